@@ -5,11 +5,36 @@ package c09
 import "reflect"
 
 type Rec000 struct {
-	V    int64    `json:"v" protobuf:"varint,1,opt,name=v" thrift:"1"`
-	Next *Rec000  `json:"next,omitempty" protobuf:"bytes,2,opt,name=next" thrift:"2"`
-	Kids []Rec000 `json:"kids,omitempty" protobuf:"bytes,3,rep,name=kids" thrift:"3"`
-	Peer *Peer000 `json:"peer,omitempty" protobuf:"bytes,4,opt,name=peer" thrift:"4"`
-	S    string   `json:"s,omitempty" protobuf:"bytes,5,opt,name=s" thrift:"5"`
+	M    map[string]Peer000 `json:"m,omitempty" protobuf:"bytes,6,rep,name=m" protobuf_key:"bytes,1,opt,name=key" protobuf_val:"bytes,2,opt,name=value" thrift:"6"`
+	V    int64              `json:"v" protobuf:"varint,1,opt,name=v" thrift:"1"`
+	Next *Rec000            `json:"next,omitempty" protobuf:"bytes,2,opt,name=next" thrift:"2"`
+	Kids []Rec000           `json:"kids,omitempty" protobuf:"bytes,3,rep,name=kids" thrift:"3"`
+	Peer *Peer000           `json:"peer,omitempty" protobuf:"bytes,4,opt,name=peer" thrift:"4"`
+	S    string             `json:"s,omitempty" protobuf:"bytes,5,opt,name=s" thrift:"5"`
+	X00  int64              `json:"x0,omitempty" protobuf:"varint,20,opt,name=x0" thrift:"20"`
+	X01  int64              `json:"x1,omitempty" protobuf:"varint,21,opt,name=x1" thrift:"21"`
+	X02  int64              `json:"x2,omitempty" protobuf:"varint,22,opt,name=x2" thrift:"22"`
+	X03  int64              `json:"x3,omitempty" protobuf:"varint,23,opt,name=x3" thrift:"23"`
+	X04  int64              `json:"x4,omitempty" protobuf:"varint,24,opt,name=x4" thrift:"24"`
+	X05  int64              `json:"x5,omitempty" protobuf:"varint,25,opt,name=x5" thrift:"25"`
+	X06  int64              `json:"x6,omitempty" protobuf:"varint,26,opt,name=x6" thrift:"26"`
+	X07  int64              `json:"x7,omitempty" protobuf:"varint,27,opt,name=x7" thrift:"27"`
+	X08  int64              `json:"x8,omitempty" protobuf:"varint,28,opt,name=x8" thrift:"28"`
+	X09  int64              `json:"x9,omitempty" protobuf:"varint,29,opt,name=x9" thrift:"29"`
+	X10  int64              `json:"x10,omitempty" protobuf:"varint,30,opt,name=x10" thrift:"30"`
+	X11  int64              `json:"x11,omitempty" protobuf:"varint,31,opt,name=x11" thrift:"31"`
+	X12  int64              `json:"x12,omitempty" protobuf:"varint,32,opt,name=x12" thrift:"32"`
+	X13  int64              `json:"x13,omitempty" protobuf:"varint,33,opt,name=x13" thrift:"33"`
+	X14  int64              `json:"x14,omitempty" protobuf:"varint,34,opt,name=x14" thrift:"34"`
+	X15  int64              `json:"x15,omitempty" protobuf:"varint,35,opt,name=x15" thrift:"35"`
+	X16  int64              `json:"x16,omitempty" protobuf:"varint,36,opt,name=x16" thrift:"36"`
+	X17  int64              `json:"x17,omitempty" protobuf:"varint,37,opt,name=x17" thrift:"37"`
+	X18  int64              `json:"x18,omitempty" protobuf:"varint,38,opt,name=x18" thrift:"38"`
+	X19  int64              `json:"x19,omitempty" protobuf:"varint,39,opt,name=x19" thrift:"39"`
+	X20  int64              `json:"x20,omitempty" protobuf:"varint,40,opt,name=x20" thrift:"40"`
+	X21  int64              `json:"x21,omitempty" protobuf:"varint,41,opt,name=x21" thrift:"41"`
+	X22  int64              `json:"x22,omitempty" protobuf:"varint,42,opt,name=x22" thrift:"42"`
+	X23  int64              `json:"x23,omitempty" protobuf:"varint,43,opt,name=x23" thrift:"43"`
 }
 
 type Peer000 struct {
@@ -19,11 +44,36 @@ type Peer000 struct {
 }
 
 type Rec001 struct {
-	V    int64    `json:"v" protobuf:"varint,1,opt,name=v" thrift:"1"`
-	Next *Rec001  `json:"next,omitempty" protobuf:"bytes,2,opt,name=next" thrift:"2"`
-	Kids []Rec001 `json:"kids,omitempty" protobuf:"bytes,3,rep,name=kids" thrift:"3"`
-	Peer *Peer001 `json:"peer,omitempty" protobuf:"bytes,4,opt,name=peer" thrift:"4"`
-	S    string   `json:"s,omitempty" protobuf:"bytes,5,opt,name=s" thrift:"5"`
+	M    map[string]Peer001 `json:"m,omitempty" protobuf:"bytes,6,rep,name=m" protobuf_key:"bytes,1,opt,name=key" protobuf_val:"bytes,2,opt,name=value" thrift:"6"`
+	V    int64              `json:"v" protobuf:"varint,1,opt,name=v" thrift:"1"`
+	Next *Rec001            `json:"next,omitempty" protobuf:"bytes,2,opt,name=next" thrift:"2"`
+	Kids []Rec001           `json:"kids,omitempty" protobuf:"bytes,3,rep,name=kids" thrift:"3"`
+	Peer *Peer001           `json:"peer,omitempty" protobuf:"bytes,4,opt,name=peer" thrift:"4"`
+	S    string             `json:"s,omitempty" protobuf:"bytes,5,opt,name=s" thrift:"5"`
+	X00  int64              `json:"x0,omitempty" protobuf:"varint,20,opt,name=x0" thrift:"20"`
+	X01  int64              `json:"x1,omitempty" protobuf:"varint,21,opt,name=x1" thrift:"21"`
+	X02  int64              `json:"x2,omitempty" protobuf:"varint,22,opt,name=x2" thrift:"22"`
+	X03  int64              `json:"x3,omitempty" protobuf:"varint,23,opt,name=x3" thrift:"23"`
+	X04  int64              `json:"x4,omitempty" protobuf:"varint,24,opt,name=x4" thrift:"24"`
+	X05  int64              `json:"x5,omitempty" protobuf:"varint,25,opt,name=x5" thrift:"25"`
+	X06  int64              `json:"x6,omitempty" protobuf:"varint,26,opt,name=x6" thrift:"26"`
+	X07  int64              `json:"x7,omitempty" protobuf:"varint,27,opt,name=x7" thrift:"27"`
+	X08  int64              `json:"x8,omitempty" protobuf:"varint,28,opt,name=x8" thrift:"28"`
+	X09  int64              `json:"x9,omitempty" protobuf:"varint,29,opt,name=x9" thrift:"29"`
+	X10  int64              `json:"x10,omitempty" protobuf:"varint,30,opt,name=x10" thrift:"30"`
+	X11  int64              `json:"x11,omitempty" protobuf:"varint,31,opt,name=x11" thrift:"31"`
+	X12  int64              `json:"x12,omitempty" protobuf:"varint,32,opt,name=x12" thrift:"32"`
+	X13  int64              `json:"x13,omitempty" protobuf:"varint,33,opt,name=x13" thrift:"33"`
+	X14  int64              `json:"x14,omitempty" protobuf:"varint,34,opt,name=x14" thrift:"34"`
+	X15  int64              `json:"x15,omitempty" protobuf:"varint,35,opt,name=x15" thrift:"35"`
+	X16  int64              `json:"x16,omitempty" protobuf:"varint,36,opt,name=x16" thrift:"36"`
+	X17  int64              `json:"x17,omitempty" protobuf:"varint,37,opt,name=x17" thrift:"37"`
+	X18  int64              `json:"x18,omitempty" protobuf:"varint,38,opt,name=x18" thrift:"38"`
+	X19  int64              `json:"x19,omitempty" protobuf:"varint,39,opt,name=x19" thrift:"39"`
+	X20  int64              `json:"x20,omitempty" protobuf:"varint,40,opt,name=x20" thrift:"40"`
+	X21  int64              `json:"x21,omitempty" protobuf:"varint,41,opt,name=x21" thrift:"41"`
+	X22  int64              `json:"x22,omitempty" protobuf:"varint,42,opt,name=x22" thrift:"42"`
+	X23  int64              `json:"x23,omitempty" protobuf:"varint,43,opt,name=x23" thrift:"43"`
 }
 
 type Peer001 struct {
@@ -33,11 +83,36 @@ type Peer001 struct {
 }
 
 type Rec002 struct {
-	V    int64    `json:"v" protobuf:"varint,1,opt,name=v" thrift:"1"`
-	Next *Rec002  `json:"next,omitempty" protobuf:"bytes,2,opt,name=next" thrift:"2"`
-	Kids []Rec002 `json:"kids,omitempty" protobuf:"bytes,3,rep,name=kids" thrift:"3"`
-	Peer *Peer002 `json:"peer,omitempty" protobuf:"bytes,4,opt,name=peer" thrift:"4"`
-	S    string   `json:"s,omitempty" protobuf:"bytes,5,opt,name=s" thrift:"5"`
+	M    map[string]Peer002 `json:"m,omitempty" protobuf:"bytes,6,rep,name=m" protobuf_key:"bytes,1,opt,name=key" protobuf_val:"bytes,2,opt,name=value" thrift:"6"`
+	V    int64              `json:"v" protobuf:"varint,1,opt,name=v" thrift:"1"`
+	Next *Rec002            `json:"next,omitempty" protobuf:"bytes,2,opt,name=next" thrift:"2"`
+	Kids []Rec002           `json:"kids,omitempty" protobuf:"bytes,3,rep,name=kids" thrift:"3"`
+	Peer *Peer002           `json:"peer,omitempty" protobuf:"bytes,4,opt,name=peer" thrift:"4"`
+	S    string             `json:"s,omitempty" protobuf:"bytes,5,opt,name=s" thrift:"5"`
+	X00  int64              `json:"x0,omitempty" protobuf:"varint,20,opt,name=x0" thrift:"20"`
+	X01  int64              `json:"x1,omitempty" protobuf:"varint,21,opt,name=x1" thrift:"21"`
+	X02  int64              `json:"x2,omitempty" protobuf:"varint,22,opt,name=x2" thrift:"22"`
+	X03  int64              `json:"x3,omitempty" protobuf:"varint,23,opt,name=x3" thrift:"23"`
+	X04  int64              `json:"x4,omitempty" protobuf:"varint,24,opt,name=x4" thrift:"24"`
+	X05  int64              `json:"x5,omitempty" protobuf:"varint,25,opt,name=x5" thrift:"25"`
+	X06  int64              `json:"x6,omitempty" protobuf:"varint,26,opt,name=x6" thrift:"26"`
+	X07  int64              `json:"x7,omitempty" protobuf:"varint,27,opt,name=x7" thrift:"27"`
+	X08  int64              `json:"x8,omitempty" protobuf:"varint,28,opt,name=x8" thrift:"28"`
+	X09  int64              `json:"x9,omitempty" protobuf:"varint,29,opt,name=x9" thrift:"29"`
+	X10  int64              `json:"x10,omitempty" protobuf:"varint,30,opt,name=x10" thrift:"30"`
+	X11  int64              `json:"x11,omitempty" protobuf:"varint,31,opt,name=x11" thrift:"31"`
+	X12  int64              `json:"x12,omitempty" protobuf:"varint,32,opt,name=x12" thrift:"32"`
+	X13  int64              `json:"x13,omitempty" protobuf:"varint,33,opt,name=x13" thrift:"33"`
+	X14  int64              `json:"x14,omitempty" protobuf:"varint,34,opt,name=x14" thrift:"34"`
+	X15  int64              `json:"x15,omitempty" protobuf:"varint,35,opt,name=x15" thrift:"35"`
+	X16  int64              `json:"x16,omitempty" protobuf:"varint,36,opt,name=x16" thrift:"36"`
+	X17  int64              `json:"x17,omitempty" protobuf:"varint,37,opt,name=x17" thrift:"37"`
+	X18  int64              `json:"x18,omitempty" protobuf:"varint,38,opt,name=x18" thrift:"38"`
+	X19  int64              `json:"x19,omitempty" protobuf:"varint,39,opt,name=x19" thrift:"39"`
+	X20  int64              `json:"x20,omitempty" protobuf:"varint,40,opt,name=x20" thrift:"40"`
+	X21  int64              `json:"x21,omitempty" protobuf:"varint,41,opt,name=x21" thrift:"41"`
+	X22  int64              `json:"x22,omitempty" protobuf:"varint,42,opt,name=x22" thrift:"42"`
+	X23  int64              `json:"x23,omitempty" protobuf:"varint,43,opt,name=x23" thrift:"43"`
 }
 
 type Peer002 struct {
@@ -47,11 +122,36 @@ type Peer002 struct {
 }
 
 type Rec003 struct {
-	V    int64    `json:"v" protobuf:"varint,1,opt,name=v" thrift:"1"`
-	Next *Rec003  `json:"next,omitempty" protobuf:"bytes,2,opt,name=next" thrift:"2"`
-	Kids []Rec003 `json:"kids,omitempty" protobuf:"bytes,3,rep,name=kids" thrift:"3"`
-	Peer *Peer003 `json:"peer,omitempty" protobuf:"bytes,4,opt,name=peer" thrift:"4"`
-	S    string   `json:"s,omitempty" protobuf:"bytes,5,opt,name=s" thrift:"5"`
+	M    map[string]Peer003 `json:"m,omitempty" protobuf:"bytes,6,rep,name=m" protobuf_key:"bytes,1,opt,name=key" protobuf_val:"bytes,2,opt,name=value" thrift:"6"`
+	V    int64              `json:"v" protobuf:"varint,1,opt,name=v" thrift:"1"`
+	Next *Rec003            `json:"next,omitempty" protobuf:"bytes,2,opt,name=next" thrift:"2"`
+	Kids []Rec003           `json:"kids,omitempty" protobuf:"bytes,3,rep,name=kids" thrift:"3"`
+	Peer *Peer003           `json:"peer,omitempty" protobuf:"bytes,4,opt,name=peer" thrift:"4"`
+	S    string             `json:"s,omitempty" protobuf:"bytes,5,opt,name=s" thrift:"5"`
+	X00  int64              `json:"x0,omitempty" protobuf:"varint,20,opt,name=x0" thrift:"20"`
+	X01  int64              `json:"x1,omitempty" protobuf:"varint,21,opt,name=x1" thrift:"21"`
+	X02  int64              `json:"x2,omitempty" protobuf:"varint,22,opt,name=x2" thrift:"22"`
+	X03  int64              `json:"x3,omitempty" protobuf:"varint,23,opt,name=x3" thrift:"23"`
+	X04  int64              `json:"x4,omitempty" protobuf:"varint,24,opt,name=x4" thrift:"24"`
+	X05  int64              `json:"x5,omitempty" protobuf:"varint,25,opt,name=x5" thrift:"25"`
+	X06  int64              `json:"x6,omitempty" protobuf:"varint,26,opt,name=x6" thrift:"26"`
+	X07  int64              `json:"x7,omitempty" protobuf:"varint,27,opt,name=x7" thrift:"27"`
+	X08  int64              `json:"x8,omitempty" protobuf:"varint,28,opt,name=x8" thrift:"28"`
+	X09  int64              `json:"x9,omitempty" protobuf:"varint,29,opt,name=x9" thrift:"29"`
+	X10  int64              `json:"x10,omitempty" protobuf:"varint,30,opt,name=x10" thrift:"30"`
+	X11  int64              `json:"x11,omitempty" protobuf:"varint,31,opt,name=x11" thrift:"31"`
+	X12  int64              `json:"x12,omitempty" protobuf:"varint,32,opt,name=x12" thrift:"32"`
+	X13  int64              `json:"x13,omitempty" protobuf:"varint,33,opt,name=x13" thrift:"33"`
+	X14  int64              `json:"x14,omitempty" protobuf:"varint,34,opt,name=x14" thrift:"34"`
+	X15  int64              `json:"x15,omitempty" protobuf:"varint,35,opt,name=x15" thrift:"35"`
+	X16  int64              `json:"x16,omitempty" protobuf:"varint,36,opt,name=x16" thrift:"36"`
+	X17  int64              `json:"x17,omitempty" protobuf:"varint,37,opt,name=x17" thrift:"37"`
+	X18  int64              `json:"x18,omitempty" protobuf:"varint,38,opt,name=x18" thrift:"38"`
+	X19  int64              `json:"x19,omitempty" protobuf:"varint,39,opt,name=x19" thrift:"39"`
+	X20  int64              `json:"x20,omitempty" protobuf:"varint,40,opt,name=x20" thrift:"40"`
+	X21  int64              `json:"x21,omitempty" protobuf:"varint,41,opt,name=x21" thrift:"41"`
+	X22  int64              `json:"x22,omitempty" protobuf:"varint,42,opt,name=x22" thrift:"42"`
+	X23  int64              `json:"x23,omitempty" protobuf:"varint,43,opt,name=x23" thrift:"43"`
 }
 
 type Peer003 struct {
@@ -61,11 +161,36 @@ type Peer003 struct {
 }
 
 type Rec004 struct {
-	V    int64    `json:"v" protobuf:"varint,1,opt,name=v" thrift:"1"`
-	Next *Rec004  `json:"next,omitempty" protobuf:"bytes,2,opt,name=next" thrift:"2"`
-	Kids []Rec004 `json:"kids,omitempty" protobuf:"bytes,3,rep,name=kids" thrift:"3"`
-	Peer *Peer004 `json:"peer,omitempty" protobuf:"bytes,4,opt,name=peer" thrift:"4"`
-	S    string   `json:"s,omitempty" protobuf:"bytes,5,opt,name=s" thrift:"5"`
+	M    map[string]Peer004 `json:"m,omitempty" protobuf:"bytes,6,rep,name=m" protobuf_key:"bytes,1,opt,name=key" protobuf_val:"bytes,2,opt,name=value" thrift:"6"`
+	V    int64              `json:"v" protobuf:"varint,1,opt,name=v" thrift:"1"`
+	Next *Rec004            `json:"next,omitempty" protobuf:"bytes,2,opt,name=next" thrift:"2"`
+	Kids []Rec004           `json:"kids,omitempty" protobuf:"bytes,3,rep,name=kids" thrift:"3"`
+	Peer *Peer004           `json:"peer,omitempty" protobuf:"bytes,4,opt,name=peer" thrift:"4"`
+	S    string             `json:"s,omitempty" protobuf:"bytes,5,opt,name=s" thrift:"5"`
+	X00  int64              `json:"x0,omitempty" protobuf:"varint,20,opt,name=x0" thrift:"20"`
+	X01  int64              `json:"x1,omitempty" protobuf:"varint,21,opt,name=x1" thrift:"21"`
+	X02  int64              `json:"x2,omitempty" protobuf:"varint,22,opt,name=x2" thrift:"22"`
+	X03  int64              `json:"x3,omitempty" protobuf:"varint,23,opt,name=x3" thrift:"23"`
+	X04  int64              `json:"x4,omitempty" protobuf:"varint,24,opt,name=x4" thrift:"24"`
+	X05  int64              `json:"x5,omitempty" protobuf:"varint,25,opt,name=x5" thrift:"25"`
+	X06  int64              `json:"x6,omitempty" protobuf:"varint,26,opt,name=x6" thrift:"26"`
+	X07  int64              `json:"x7,omitempty" protobuf:"varint,27,opt,name=x7" thrift:"27"`
+	X08  int64              `json:"x8,omitempty" protobuf:"varint,28,opt,name=x8" thrift:"28"`
+	X09  int64              `json:"x9,omitempty" protobuf:"varint,29,opt,name=x9" thrift:"29"`
+	X10  int64              `json:"x10,omitempty" protobuf:"varint,30,opt,name=x10" thrift:"30"`
+	X11  int64              `json:"x11,omitempty" protobuf:"varint,31,opt,name=x11" thrift:"31"`
+	X12  int64              `json:"x12,omitempty" protobuf:"varint,32,opt,name=x12" thrift:"32"`
+	X13  int64              `json:"x13,omitempty" protobuf:"varint,33,opt,name=x13" thrift:"33"`
+	X14  int64              `json:"x14,omitempty" protobuf:"varint,34,opt,name=x14" thrift:"34"`
+	X15  int64              `json:"x15,omitempty" protobuf:"varint,35,opt,name=x15" thrift:"35"`
+	X16  int64              `json:"x16,omitempty" protobuf:"varint,36,opt,name=x16" thrift:"36"`
+	X17  int64              `json:"x17,omitempty" protobuf:"varint,37,opt,name=x17" thrift:"37"`
+	X18  int64              `json:"x18,omitempty" protobuf:"varint,38,opt,name=x18" thrift:"38"`
+	X19  int64              `json:"x19,omitempty" protobuf:"varint,39,opt,name=x19" thrift:"39"`
+	X20  int64              `json:"x20,omitempty" protobuf:"varint,40,opt,name=x20" thrift:"40"`
+	X21  int64              `json:"x21,omitempty" protobuf:"varint,41,opt,name=x21" thrift:"41"`
+	X22  int64              `json:"x22,omitempty" protobuf:"varint,42,opt,name=x22" thrift:"42"`
+	X23  int64              `json:"x23,omitempty" protobuf:"varint,43,opt,name=x23" thrift:"43"`
 }
 
 type Peer004 struct {
@@ -75,11 +200,36 @@ type Peer004 struct {
 }
 
 type Rec005 struct {
-	V    int64    `json:"v" protobuf:"varint,1,opt,name=v" thrift:"1"`
-	Next *Rec005  `json:"next,omitempty" protobuf:"bytes,2,opt,name=next" thrift:"2"`
-	Kids []Rec005 `json:"kids,omitempty" protobuf:"bytes,3,rep,name=kids" thrift:"3"`
-	Peer *Peer005 `json:"peer,omitempty" protobuf:"bytes,4,opt,name=peer" thrift:"4"`
-	S    string   `json:"s,omitempty" protobuf:"bytes,5,opt,name=s" thrift:"5"`
+	M    map[string]Peer005 `json:"m,omitempty" protobuf:"bytes,6,rep,name=m" protobuf_key:"bytes,1,opt,name=key" protobuf_val:"bytes,2,opt,name=value" thrift:"6"`
+	V    int64              `json:"v" protobuf:"varint,1,opt,name=v" thrift:"1"`
+	Next *Rec005            `json:"next,omitempty" protobuf:"bytes,2,opt,name=next" thrift:"2"`
+	Kids []Rec005           `json:"kids,omitempty" protobuf:"bytes,3,rep,name=kids" thrift:"3"`
+	Peer *Peer005           `json:"peer,omitempty" protobuf:"bytes,4,opt,name=peer" thrift:"4"`
+	S    string             `json:"s,omitempty" protobuf:"bytes,5,opt,name=s" thrift:"5"`
+	X00  int64              `json:"x0,omitempty" protobuf:"varint,20,opt,name=x0" thrift:"20"`
+	X01  int64              `json:"x1,omitempty" protobuf:"varint,21,opt,name=x1" thrift:"21"`
+	X02  int64              `json:"x2,omitempty" protobuf:"varint,22,opt,name=x2" thrift:"22"`
+	X03  int64              `json:"x3,omitempty" protobuf:"varint,23,opt,name=x3" thrift:"23"`
+	X04  int64              `json:"x4,omitempty" protobuf:"varint,24,opt,name=x4" thrift:"24"`
+	X05  int64              `json:"x5,omitempty" protobuf:"varint,25,opt,name=x5" thrift:"25"`
+	X06  int64              `json:"x6,omitempty" protobuf:"varint,26,opt,name=x6" thrift:"26"`
+	X07  int64              `json:"x7,omitempty" protobuf:"varint,27,opt,name=x7" thrift:"27"`
+	X08  int64              `json:"x8,omitempty" protobuf:"varint,28,opt,name=x8" thrift:"28"`
+	X09  int64              `json:"x9,omitempty" protobuf:"varint,29,opt,name=x9" thrift:"29"`
+	X10  int64              `json:"x10,omitempty" protobuf:"varint,30,opt,name=x10" thrift:"30"`
+	X11  int64              `json:"x11,omitempty" protobuf:"varint,31,opt,name=x11" thrift:"31"`
+	X12  int64              `json:"x12,omitempty" protobuf:"varint,32,opt,name=x12" thrift:"32"`
+	X13  int64              `json:"x13,omitempty" protobuf:"varint,33,opt,name=x13" thrift:"33"`
+	X14  int64              `json:"x14,omitempty" protobuf:"varint,34,opt,name=x14" thrift:"34"`
+	X15  int64              `json:"x15,omitempty" protobuf:"varint,35,opt,name=x15" thrift:"35"`
+	X16  int64              `json:"x16,omitempty" protobuf:"varint,36,opt,name=x16" thrift:"36"`
+	X17  int64              `json:"x17,omitempty" protobuf:"varint,37,opt,name=x17" thrift:"37"`
+	X18  int64              `json:"x18,omitempty" protobuf:"varint,38,opt,name=x18" thrift:"38"`
+	X19  int64              `json:"x19,omitempty" protobuf:"varint,39,opt,name=x19" thrift:"39"`
+	X20  int64              `json:"x20,omitempty" protobuf:"varint,40,opt,name=x20" thrift:"40"`
+	X21  int64              `json:"x21,omitempty" protobuf:"varint,41,opt,name=x21" thrift:"41"`
+	X22  int64              `json:"x22,omitempty" protobuf:"varint,42,opt,name=x22" thrift:"42"`
+	X23  int64              `json:"x23,omitempty" protobuf:"varint,43,opt,name=x23" thrift:"43"`
 }
 
 type Peer005 struct {
@@ -89,11 +239,36 @@ type Peer005 struct {
 }
 
 type Rec006 struct {
-	V    int64    `json:"v" protobuf:"varint,1,opt,name=v" thrift:"1"`
-	Next *Rec006  `json:"next,omitempty" protobuf:"bytes,2,opt,name=next" thrift:"2"`
-	Kids []Rec006 `json:"kids,omitempty" protobuf:"bytes,3,rep,name=kids" thrift:"3"`
-	Peer *Peer006 `json:"peer,omitempty" protobuf:"bytes,4,opt,name=peer" thrift:"4"`
-	S    string   `json:"s,omitempty" protobuf:"bytes,5,opt,name=s" thrift:"5"`
+	M    map[string]Peer006 `json:"m,omitempty" protobuf:"bytes,6,rep,name=m" protobuf_key:"bytes,1,opt,name=key" protobuf_val:"bytes,2,opt,name=value" thrift:"6"`
+	V    int64              `json:"v" protobuf:"varint,1,opt,name=v" thrift:"1"`
+	Next *Rec006            `json:"next,omitempty" protobuf:"bytes,2,opt,name=next" thrift:"2"`
+	Kids []Rec006           `json:"kids,omitempty" protobuf:"bytes,3,rep,name=kids" thrift:"3"`
+	Peer *Peer006           `json:"peer,omitempty" protobuf:"bytes,4,opt,name=peer" thrift:"4"`
+	S    string             `json:"s,omitempty" protobuf:"bytes,5,opt,name=s" thrift:"5"`
+	X00  int64              `json:"x0,omitempty" protobuf:"varint,20,opt,name=x0" thrift:"20"`
+	X01  int64              `json:"x1,omitempty" protobuf:"varint,21,opt,name=x1" thrift:"21"`
+	X02  int64              `json:"x2,omitempty" protobuf:"varint,22,opt,name=x2" thrift:"22"`
+	X03  int64              `json:"x3,omitempty" protobuf:"varint,23,opt,name=x3" thrift:"23"`
+	X04  int64              `json:"x4,omitempty" protobuf:"varint,24,opt,name=x4" thrift:"24"`
+	X05  int64              `json:"x5,omitempty" protobuf:"varint,25,opt,name=x5" thrift:"25"`
+	X06  int64              `json:"x6,omitempty" protobuf:"varint,26,opt,name=x6" thrift:"26"`
+	X07  int64              `json:"x7,omitempty" protobuf:"varint,27,opt,name=x7" thrift:"27"`
+	X08  int64              `json:"x8,omitempty" protobuf:"varint,28,opt,name=x8" thrift:"28"`
+	X09  int64              `json:"x9,omitempty" protobuf:"varint,29,opt,name=x9" thrift:"29"`
+	X10  int64              `json:"x10,omitempty" protobuf:"varint,30,opt,name=x10" thrift:"30"`
+	X11  int64              `json:"x11,omitempty" protobuf:"varint,31,opt,name=x11" thrift:"31"`
+	X12  int64              `json:"x12,omitempty" protobuf:"varint,32,opt,name=x12" thrift:"32"`
+	X13  int64              `json:"x13,omitempty" protobuf:"varint,33,opt,name=x13" thrift:"33"`
+	X14  int64              `json:"x14,omitempty" protobuf:"varint,34,opt,name=x14" thrift:"34"`
+	X15  int64              `json:"x15,omitempty" protobuf:"varint,35,opt,name=x15" thrift:"35"`
+	X16  int64              `json:"x16,omitempty" protobuf:"varint,36,opt,name=x16" thrift:"36"`
+	X17  int64              `json:"x17,omitempty" protobuf:"varint,37,opt,name=x17" thrift:"37"`
+	X18  int64              `json:"x18,omitempty" protobuf:"varint,38,opt,name=x18" thrift:"38"`
+	X19  int64              `json:"x19,omitempty" protobuf:"varint,39,opt,name=x19" thrift:"39"`
+	X20  int64              `json:"x20,omitempty" protobuf:"varint,40,opt,name=x20" thrift:"40"`
+	X21  int64              `json:"x21,omitempty" protobuf:"varint,41,opt,name=x21" thrift:"41"`
+	X22  int64              `json:"x22,omitempty" protobuf:"varint,42,opt,name=x22" thrift:"42"`
+	X23  int64              `json:"x23,omitempty" protobuf:"varint,43,opt,name=x23" thrift:"43"`
 }
 
 type Peer006 struct {
@@ -103,11 +278,36 @@ type Peer006 struct {
 }
 
 type Rec007 struct {
-	V    int64    `json:"v" protobuf:"varint,1,opt,name=v" thrift:"1"`
-	Next *Rec007  `json:"next,omitempty" protobuf:"bytes,2,opt,name=next" thrift:"2"`
-	Kids []Rec007 `json:"kids,omitempty" protobuf:"bytes,3,rep,name=kids" thrift:"3"`
-	Peer *Peer007 `json:"peer,omitempty" protobuf:"bytes,4,opt,name=peer" thrift:"4"`
-	S    string   `json:"s,omitempty" protobuf:"bytes,5,opt,name=s" thrift:"5"`
+	M    map[string]Peer007 `json:"m,omitempty" protobuf:"bytes,6,rep,name=m" protobuf_key:"bytes,1,opt,name=key" protobuf_val:"bytes,2,opt,name=value" thrift:"6"`
+	V    int64              `json:"v" protobuf:"varint,1,opt,name=v" thrift:"1"`
+	Next *Rec007            `json:"next,omitempty" protobuf:"bytes,2,opt,name=next" thrift:"2"`
+	Kids []Rec007           `json:"kids,omitempty" protobuf:"bytes,3,rep,name=kids" thrift:"3"`
+	Peer *Peer007           `json:"peer,omitempty" protobuf:"bytes,4,opt,name=peer" thrift:"4"`
+	S    string             `json:"s,omitempty" protobuf:"bytes,5,opt,name=s" thrift:"5"`
+	X00  int64              `json:"x0,omitempty" protobuf:"varint,20,opt,name=x0" thrift:"20"`
+	X01  int64              `json:"x1,omitempty" protobuf:"varint,21,opt,name=x1" thrift:"21"`
+	X02  int64              `json:"x2,omitempty" protobuf:"varint,22,opt,name=x2" thrift:"22"`
+	X03  int64              `json:"x3,omitempty" protobuf:"varint,23,opt,name=x3" thrift:"23"`
+	X04  int64              `json:"x4,omitempty" protobuf:"varint,24,opt,name=x4" thrift:"24"`
+	X05  int64              `json:"x5,omitempty" protobuf:"varint,25,opt,name=x5" thrift:"25"`
+	X06  int64              `json:"x6,omitempty" protobuf:"varint,26,opt,name=x6" thrift:"26"`
+	X07  int64              `json:"x7,omitempty" protobuf:"varint,27,opt,name=x7" thrift:"27"`
+	X08  int64              `json:"x8,omitempty" protobuf:"varint,28,opt,name=x8" thrift:"28"`
+	X09  int64              `json:"x9,omitempty" protobuf:"varint,29,opt,name=x9" thrift:"29"`
+	X10  int64              `json:"x10,omitempty" protobuf:"varint,30,opt,name=x10" thrift:"30"`
+	X11  int64              `json:"x11,omitempty" protobuf:"varint,31,opt,name=x11" thrift:"31"`
+	X12  int64              `json:"x12,omitempty" protobuf:"varint,32,opt,name=x12" thrift:"32"`
+	X13  int64              `json:"x13,omitempty" protobuf:"varint,33,opt,name=x13" thrift:"33"`
+	X14  int64              `json:"x14,omitempty" protobuf:"varint,34,opt,name=x14" thrift:"34"`
+	X15  int64              `json:"x15,omitempty" protobuf:"varint,35,opt,name=x15" thrift:"35"`
+	X16  int64              `json:"x16,omitempty" protobuf:"varint,36,opt,name=x16" thrift:"36"`
+	X17  int64              `json:"x17,omitempty" protobuf:"varint,37,opt,name=x17" thrift:"37"`
+	X18  int64              `json:"x18,omitempty" protobuf:"varint,38,opt,name=x18" thrift:"38"`
+	X19  int64              `json:"x19,omitempty" protobuf:"varint,39,opt,name=x19" thrift:"39"`
+	X20  int64              `json:"x20,omitempty" protobuf:"varint,40,opt,name=x20" thrift:"40"`
+	X21  int64              `json:"x21,omitempty" protobuf:"varint,41,opt,name=x21" thrift:"41"`
+	X22  int64              `json:"x22,omitempty" protobuf:"varint,42,opt,name=x22" thrift:"42"`
+	X23  int64              `json:"x23,omitempty" protobuf:"varint,43,opt,name=x23" thrift:"43"`
 }
 
 type Peer007 struct {
@@ -117,11 +317,36 @@ type Peer007 struct {
 }
 
 type Rec008 struct {
-	V    int64    `json:"v" protobuf:"varint,1,opt,name=v" thrift:"1"`
-	Next *Rec008  `json:"next,omitempty" protobuf:"bytes,2,opt,name=next" thrift:"2"`
-	Kids []Rec008 `json:"kids,omitempty" protobuf:"bytes,3,rep,name=kids" thrift:"3"`
-	Peer *Peer008 `json:"peer,omitempty" protobuf:"bytes,4,opt,name=peer" thrift:"4"`
-	S    string   `json:"s,omitempty" protobuf:"bytes,5,opt,name=s" thrift:"5"`
+	M    map[string]Peer008 `json:"m,omitempty" protobuf:"bytes,6,rep,name=m" protobuf_key:"bytes,1,opt,name=key" protobuf_val:"bytes,2,opt,name=value" thrift:"6"`
+	V    int64              `json:"v" protobuf:"varint,1,opt,name=v" thrift:"1"`
+	Next *Rec008            `json:"next,omitempty" protobuf:"bytes,2,opt,name=next" thrift:"2"`
+	Kids []Rec008           `json:"kids,omitempty" protobuf:"bytes,3,rep,name=kids" thrift:"3"`
+	Peer *Peer008           `json:"peer,omitempty" protobuf:"bytes,4,opt,name=peer" thrift:"4"`
+	S    string             `json:"s,omitempty" protobuf:"bytes,5,opt,name=s" thrift:"5"`
+	X00  int64              `json:"x0,omitempty" protobuf:"varint,20,opt,name=x0" thrift:"20"`
+	X01  int64              `json:"x1,omitempty" protobuf:"varint,21,opt,name=x1" thrift:"21"`
+	X02  int64              `json:"x2,omitempty" protobuf:"varint,22,opt,name=x2" thrift:"22"`
+	X03  int64              `json:"x3,omitempty" protobuf:"varint,23,opt,name=x3" thrift:"23"`
+	X04  int64              `json:"x4,omitempty" protobuf:"varint,24,opt,name=x4" thrift:"24"`
+	X05  int64              `json:"x5,omitempty" protobuf:"varint,25,opt,name=x5" thrift:"25"`
+	X06  int64              `json:"x6,omitempty" protobuf:"varint,26,opt,name=x6" thrift:"26"`
+	X07  int64              `json:"x7,omitempty" protobuf:"varint,27,opt,name=x7" thrift:"27"`
+	X08  int64              `json:"x8,omitempty" protobuf:"varint,28,opt,name=x8" thrift:"28"`
+	X09  int64              `json:"x9,omitempty" protobuf:"varint,29,opt,name=x9" thrift:"29"`
+	X10  int64              `json:"x10,omitempty" protobuf:"varint,30,opt,name=x10" thrift:"30"`
+	X11  int64              `json:"x11,omitempty" protobuf:"varint,31,opt,name=x11" thrift:"31"`
+	X12  int64              `json:"x12,omitempty" protobuf:"varint,32,opt,name=x12" thrift:"32"`
+	X13  int64              `json:"x13,omitempty" protobuf:"varint,33,opt,name=x13" thrift:"33"`
+	X14  int64              `json:"x14,omitempty" protobuf:"varint,34,opt,name=x14" thrift:"34"`
+	X15  int64              `json:"x15,omitempty" protobuf:"varint,35,opt,name=x15" thrift:"35"`
+	X16  int64              `json:"x16,omitempty" protobuf:"varint,36,opt,name=x16" thrift:"36"`
+	X17  int64              `json:"x17,omitempty" protobuf:"varint,37,opt,name=x17" thrift:"37"`
+	X18  int64              `json:"x18,omitempty" protobuf:"varint,38,opt,name=x18" thrift:"38"`
+	X19  int64              `json:"x19,omitempty" protobuf:"varint,39,opt,name=x19" thrift:"39"`
+	X20  int64              `json:"x20,omitempty" protobuf:"varint,40,opt,name=x20" thrift:"40"`
+	X21  int64              `json:"x21,omitempty" protobuf:"varint,41,opt,name=x21" thrift:"41"`
+	X22  int64              `json:"x22,omitempty" protobuf:"varint,42,opt,name=x22" thrift:"42"`
+	X23  int64              `json:"x23,omitempty" protobuf:"varint,43,opt,name=x23" thrift:"43"`
 }
 
 type Peer008 struct {
@@ -131,11 +356,36 @@ type Peer008 struct {
 }
 
 type Rec009 struct {
-	V    int64    `json:"v" protobuf:"varint,1,opt,name=v" thrift:"1"`
-	Next *Rec009  `json:"next,omitempty" protobuf:"bytes,2,opt,name=next" thrift:"2"`
-	Kids []Rec009 `json:"kids,omitempty" protobuf:"bytes,3,rep,name=kids" thrift:"3"`
-	Peer *Peer009 `json:"peer,omitempty" protobuf:"bytes,4,opt,name=peer" thrift:"4"`
-	S    string   `json:"s,omitempty" protobuf:"bytes,5,opt,name=s" thrift:"5"`
+	M    map[string]Peer009 `json:"m,omitempty" protobuf:"bytes,6,rep,name=m" protobuf_key:"bytes,1,opt,name=key" protobuf_val:"bytes,2,opt,name=value" thrift:"6"`
+	V    int64              `json:"v" protobuf:"varint,1,opt,name=v" thrift:"1"`
+	Next *Rec009            `json:"next,omitempty" protobuf:"bytes,2,opt,name=next" thrift:"2"`
+	Kids []Rec009           `json:"kids,omitempty" protobuf:"bytes,3,rep,name=kids" thrift:"3"`
+	Peer *Peer009           `json:"peer,omitempty" protobuf:"bytes,4,opt,name=peer" thrift:"4"`
+	S    string             `json:"s,omitempty" protobuf:"bytes,5,opt,name=s" thrift:"5"`
+	X00  int64              `json:"x0,omitempty" protobuf:"varint,20,opt,name=x0" thrift:"20"`
+	X01  int64              `json:"x1,omitempty" protobuf:"varint,21,opt,name=x1" thrift:"21"`
+	X02  int64              `json:"x2,omitempty" protobuf:"varint,22,opt,name=x2" thrift:"22"`
+	X03  int64              `json:"x3,omitempty" protobuf:"varint,23,opt,name=x3" thrift:"23"`
+	X04  int64              `json:"x4,omitempty" protobuf:"varint,24,opt,name=x4" thrift:"24"`
+	X05  int64              `json:"x5,omitempty" protobuf:"varint,25,opt,name=x5" thrift:"25"`
+	X06  int64              `json:"x6,omitempty" protobuf:"varint,26,opt,name=x6" thrift:"26"`
+	X07  int64              `json:"x7,omitempty" protobuf:"varint,27,opt,name=x7" thrift:"27"`
+	X08  int64              `json:"x8,omitempty" protobuf:"varint,28,opt,name=x8" thrift:"28"`
+	X09  int64              `json:"x9,omitempty" protobuf:"varint,29,opt,name=x9" thrift:"29"`
+	X10  int64              `json:"x10,omitempty" protobuf:"varint,30,opt,name=x10" thrift:"30"`
+	X11  int64              `json:"x11,omitempty" protobuf:"varint,31,opt,name=x11" thrift:"31"`
+	X12  int64              `json:"x12,omitempty" protobuf:"varint,32,opt,name=x12" thrift:"32"`
+	X13  int64              `json:"x13,omitempty" protobuf:"varint,33,opt,name=x13" thrift:"33"`
+	X14  int64              `json:"x14,omitempty" protobuf:"varint,34,opt,name=x14" thrift:"34"`
+	X15  int64              `json:"x15,omitempty" protobuf:"varint,35,opt,name=x15" thrift:"35"`
+	X16  int64              `json:"x16,omitempty" protobuf:"varint,36,opt,name=x16" thrift:"36"`
+	X17  int64              `json:"x17,omitempty" protobuf:"varint,37,opt,name=x17" thrift:"37"`
+	X18  int64              `json:"x18,omitempty" protobuf:"varint,38,opt,name=x18" thrift:"38"`
+	X19  int64              `json:"x19,omitempty" protobuf:"varint,39,opt,name=x19" thrift:"39"`
+	X20  int64              `json:"x20,omitempty" protobuf:"varint,40,opt,name=x20" thrift:"40"`
+	X21  int64              `json:"x21,omitempty" protobuf:"varint,41,opt,name=x21" thrift:"41"`
+	X22  int64              `json:"x22,omitempty" protobuf:"varint,42,opt,name=x22" thrift:"42"`
+	X23  int64              `json:"x23,omitempty" protobuf:"varint,43,opt,name=x23" thrift:"43"`
 }
 
 type Peer009 struct {
@@ -145,11 +395,36 @@ type Peer009 struct {
 }
 
 type Rec010 struct {
-	V    int64    `json:"v" protobuf:"varint,1,opt,name=v" thrift:"1"`
-	Next *Rec010  `json:"next,omitempty" protobuf:"bytes,2,opt,name=next" thrift:"2"`
-	Kids []Rec010 `json:"kids,omitempty" protobuf:"bytes,3,rep,name=kids" thrift:"3"`
-	Peer *Peer010 `json:"peer,omitempty" protobuf:"bytes,4,opt,name=peer" thrift:"4"`
-	S    string   `json:"s,omitempty" protobuf:"bytes,5,opt,name=s" thrift:"5"`
+	M    map[string]Peer010 `json:"m,omitempty" protobuf:"bytes,6,rep,name=m" protobuf_key:"bytes,1,opt,name=key" protobuf_val:"bytes,2,opt,name=value" thrift:"6"`
+	V    int64              `json:"v" protobuf:"varint,1,opt,name=v" thrift:"1"`
+	Next *Rec010            `json:"next,omitempty" protobuf:"bytes,2,opt,name=next" thrift:"2"`
+	Kids []Rec010           `json:"kids,omitempty" protobuf:"bytes,3,rep,name=kids" thrift:"3"`
+	Peer *Peer010           `json:"peer,omitempty" protobuf:"bytes,4,opt,name=peer" thrift:"4"`
+	S    string             `json:"s,omitempty" protobuf:"bytes,5,opt,name=s" thrift:"5"`
+	X00  int64              `json:"x0,omitempty" protobuf:"varint,20,opt,name=x0" thrift:"20"`
+	X01  int64              `json:"x1,omitempty" protobuf:"varint,21,opt,name=x1" thrift:"21"`
+	X02  int64              `json:"x2,omitempty" protobuf:"varint,22,opt,name=x2" thrift:"22"`
+	X03  int64              `json:"x3,omitempty" protobuf:"varint,23,opt,name=x3" thrift:"23"`
+	X04  int64              `json:"x4,omitempty" protobuf:"varint,24,opt,name=x4" thrift:"24"`
+	X05  int64              `json:"x5,omitempty" protobuf:"varint,25,opt,name=x5" thrift:"25"`
+	X06  int64              `json:"x6,omitempty" protobuf:"varint,26,opt,name=x6" thrift:"26"`
+	X07  int64              `json:"x7,omitempty" protobuf:"varint,27,opt,name=x7" thrift:"27"`
+	X08  int64              `json:"x8,omitempty" protobuf:"varint,28,opt,name=x8" thrift:"28"`
+	X09  int64              `json:"x9,omitempty" protobuf:"varint,29,opt,name=x9" thrift:"29"`
+	X10  int64              `json:"x10,omitempty" protobuf:"varint,30,opt,name=x10" thrift:"30"`
+	X11  int64              `json:"x11,omitempty" protobuf:"varint,31,opt,name=x11" thrift:"31"`
+	X12  int64              `json:"x12,omitempty" protobuf:"varint,32,opt,name=x12" thrift:"32"`
+	X13  int64              `json:"x13,omitempty" protobuf:"varint,33,opt,name=x13" thrift:"33"`
+	X14  int64              `json:"x14,omitempty" protobuf:"varint,34,opt,name=x14" thrift:"34"`
+	X15  int64              `json:"x15,omitempty" protobuf:"varint,35,opt,name=x15" thrift:"35"`
+	X16  int64              `json:"x16,omitempty" protobuf:"varint,36,opt,name=x16" thrift:"36"`
+	X17  int64              `json:"x17,omitempty" protobuf:"varint,37,opt,name=x17" thrift:"37"`
+	X18  int64              `json:"x18,omitempty" protobuf:"varint,38,opt,name=x18" thrift:"38"`
+	X19  int64              `json:"x19,omitempty" protobuf:"varint,39,opt,name=x19" thrift:"39"`
+	X20  int64              `json:"x20,omitempty" protobuf:"varint,40,opt,name=x20" thrift:"40"`
+	X21  int64              `json:"x21,omitempty" protobuf:"varint,41,opt,name=x21" thrift:"41"`
+	X22  int64              `json:"x22,omitempty" protobuf:"varint,42,opt,name=x22" thrift:"42"`
+	X23  int64              `json:"x23,omitempty" protobuf:"varint,43,opt,name=x23" thrift:"43"`
 }
 
 type Peer010 struct {
@@ -159,11 +434,36 @@ type Peer010 struct {
 }
 
 type Rec011 struct {
-	V    int64    `json:"v" protobuf:"varint,1,opt,name=v" thrift:"1"`
-	Next *Rec011  `json:"next,omitempty" protobuf:"bytes,2,opt,name=next" thrift:"2"`
-	Kids []Rec011 `json:"kids,omitempty" protobuf:"bytes,3,rep,name=kids" thrift:"3"`
-	Peer *Peer011 `json:"peer,omitempty" protobuf:"bytes,4,opt,name=peer" thrift:"4"`
-	S    string   `json:"s,omitempty" protobuf:"bytes,5,opt,name=s" thrift:"5"`
+	M    map[string]Peer011 `json:"m,omitempty" protobuf:"bytes,6,rep,name=m" protobuf_key:"bytes,1,opt,name=key" protobuf_val:"bytes,2,opt,name=value" thrift:"6"`
+	V    int64              `json:"v" protobuf:"varint,1,opt,name=v" thrift:"1"`
+	Next *Rec011            `json:"next,omitempty" protobuf:"bytes,2,opt,name=next" thrift:"2"`
+	Kids []Rec011           `json:"kids,omitempty" protobuf:"bytes,3,rep,name=kids" thrift:"3"`
+	Peer *Peer011           `json:"peer,omitempty" protobuf:"bytes,4,opt,name=peer" thrift:"4"`
+	S    string             `json:"s,omitempty" protobuf:"bytes,5,opt,name=s" thrift:"5"`
+	X00  int64              `json:"x0,omitempty" protobuf:"varint,20,opt,name=x0" thrift:"20"`
+	X01  int64              `json:"x1,omitempty" protobuf:"varint,21,opt,name=x1" thrift:"21"`
+	X02  int64              `json:"x2,omitempty" protobuf:"varint,22,opt,name=x2" thrift:"22"`
+	X03  int64              `json:"x3,omitempty" protobuf:"varint,23,opt,name=x3" thrift:"23"`
+	X04  int64              `json:"x4,omitempty" protobuf:"varint,24,opt,name=x4" thrift:"24"`
+	X05  int64              `json:"x5,omitempty" protobuf:"varint,25,opt,name=x5" thrift:"25"`
+	X06  int64              `json:"x6,omitempty" protobuf:"varint,26,opt,name=x6" thrift:"26"`
+	X07  int64              `json:"x7,omitempty" protobuf:"varint,27,opt,name=x7" thrift:"27"`
+	X08  int64              `json:"x8,omitempty" protobuf:"varint,28,opt,name=x8" thrift:"28"`
+	X09  int64              `json:"x9,omitempty" protobuf:"varint,29,opt,name=x9" thrift:"29"`
+	X10  int64              `json:"x10,omitempty" protobuf:"varint,30,opt,name=x10" thrift:"30"`
+	X11  int64              `json:"x11,omitempty" protobuf:"varint,31,opt,name=x11" thrift:"31"`
+	X12  int64              `json:"x12,omitempty" protobuf:"varint,32,opt,name=x12" thrift:"32"`
+	X13  int64              `json:"x13,omitempty" protobuf:"varint,33,opt,name=x13" thrift:"33"`
+	X14  int64              `json:"x14,omitempty" protobuf:"varint,34,opt,name=x14" thrift:"34"`
+	X15  int64              `json:"x15,omitempty" protobuf:"varint,35,opt,name=x15" thrift:"35"`
+	X16  int64              `json:"x16,omitempty" protobuf:"varint,36,opt,name=x16" thrift:"36"`
+	X17  int64              `json:"x17,omitempty" protobuf:"varint,37,opt,name=x17" thrift:"37"`
+	X18  int64              `json:"x18,omitempty" protobuf:"varint,38,opt,name=x18" thrift:"38"`
+	X19  int64              `json:"x19,omitempty" protobuf:"varint,39,opt,name=x19" thrift:"39"`
+	X20  int64              `json:"x20,omitempty" protobuf:"varint,40,opt,name=x20" thrift:"40"`
+	X21  int64              `json:"x21,omitempty" protobuf:"varint,41,opt,name=x21" thrift:"41"`
+	X22  int64              `json:"x22,omitempty" protobuf:"varint,42,opt,name=x22" thrift:"42"`
+	X23  int64              `json:"x23,omitempty" protobuf:"varint,43,opt,name=x23" thrift:"43"`
 }
 
 type Peer011 struct {
@@ -173,11 +473,36 @@ type Peer011 struct {
 }
 
 type Rec012 struct {
-	V    int64    `json:"v" protobuf:"varint,1,opt,name=v" thrift:"1"`
-	Next *Rec012  `json:"next,omitempty" protobuf:"bytes,2,opt,name=next" thrift:"2"`
-	Kids []Rec012 `json:"kids,omitempty" protobuf:"bytes,3,rep,name=kids" thrift:"3"`
-	Peer *Peer012 `json:"peer,omitempty" protobuf:"bytes,4,opt,name=peer" thrift:"4"`
-	S    string   `json:"s,omitempty" protobuf:"bytes,5,opt,name=s" thrift:"5"`
+	M    map[string]Peer012 `json:"m,omitempty" protobuf:"bytes,6,rep,name=m" protobuf_key:"bytes,1,opt,name=key" protobuf_val:"bytes,2,opt,name=value" thrift:"6"`
+	V    int64              `json:"v" protobuf:"varint,1,opt,name=v" thrift:"1"`
+	Next *Rec012            `json:"next,omitempty" protobuf:"bytes,2,opt,name=next" thrift:"2"`
+	Kids []Rec012           `json:"kids,omitempty" protobuf:"bytes,3,rep,name=kids" thrift:"3"`
+	Peer *Peer012           `json:"peer,omitempty" protobuf:"bytes,4,opt,name=peer" thrift:"4"`
+	S    string             `json:"s,omitempty" protobuf:"bytes,5,opt,name=s" thrift:"5"`
+	X00  int64              `json:"x0,omitempty" protobuf:"varint,20,opt,name=x0" thrift:"20"`
+	X01  int64              `json:"x1,omitempty" protobuf:"varint,21,opt,name=x1" thrift:"21"`
+	X02  int64              `json:"x2,omitempty" protobuf:"varint,22,opt,name=x2" thrift:"22"`
+	X03  int64              `json:"x3,omitempty" protobuf:"varint,23,opt,name=x3" thrift:"23"`
+	X04  int64              `json:"x4,omitempty" protobuf:"varint,24,opt,name=x4" thrift:"24"`
+	X05  int64              `json:"x5,omitempty" protobuf:"varint,25,opt,name=x5" thrift:"25"`
+	X06  int64              `json:"x6,omitempty" protobuf:"varint,26,opt,name=x6" thrift:"26"`
+	X07  int64              `json:"x7,omitempty" protobuf:"varint,27,opt,name=x7" thrift:"27"`
+	X08  int64              `json:"x8,omitempty" protobuf:"varint,28,opt,name=x8" thrift:"28"`
+	X09  int64              `json:"x9,omitempty" protobuf:"varint,29,opt,name=x9" thrift:"29"`
+	X10  int64              `json:"x10,omitempty" protobuf:"varint,30,opt,name=x10" thrift:"30"`
+	X11  int64              `json:"x11,omitempty" protobuf:"varint,31,opt,name=x11" thrift:"31"`
+	X12  int64              `json:"x12,omitempty" protobuf:"varint,32,opt,name=x12" thrift:"32"`
+	X13  int64              `json:"x13,omitempty" protobuf:"varint,33,opt,name=x13" thrift:"33"`
+	X14  int64              `json:"x14,omitempty" protobuf:"varint,34,opt,name=x14" thrift:"34"`
+	X15  int64              `json:"x15,omitempty" protobuf:"varint,35,opt,name=x15" thrift:"35"`
+	X16  int64              `json:"x16,omitempty" protobuf:"varint,36,opt,name=x16" thrift:"36"`
+	X17  int64              `json:"x17,omitempty" protobuf:"varint,37,opt,name=x17" thrift:"37"`
+	X18  int64              `json:"x18,omitempty" protobuf:"varint,38,opt,name=x18" thrift:"38"`
+	X19  int64              `json:"x19,omitempty" protobuf:"varint,39,opt,name=x19" thrift:"39"`
+	X20  int64              `json:"x20,omitempty" protobuf:"varint,40,opt,name=x20" thrift:"40"`
+	X21  int64              `json:"x21,omitempty" protobuf:"varint,41,opt,name=x21" thrift:"41"`
+	X22  int64              `json:"x22,omitempty" protobuf:"varint,42,opt,name=x22" thrift:"42"`
+	X23  int64              `json:"x23,omitempty" protobuf:"varint,43,opt,name=x23" thrift:"43"`
 }
 
 type Peer012 struct {
@@ -187,11 +512,36 @@ type Peer012 struct {
 }
 
 type Rec013 struct {
-	V    int64    `json:"v" protobuf:"varint,1,opt,name=v" thrift:"1"`
-	Next *Rec013  `json:"next,omitempty" protobuf:"bytes,2,opt,name=next" thrift:"2"`
-	Kids []Rec013 `json:"kids,omitempty" protobuf:"bytes,3,rep,name=kids" thrift:"3"`
-	Peer *Peer013 `json:"peer,omitempty" protobuf:"bytes,4,opt,name=peer" thrift:"4"`
-	S    string   `json:"s,omitempty" protobuf:"bytes,5,opt,name=s" thrift:"5"`
+	M    map[string]Peer013 `json:"m,omitempty" protobuf:"bytes,6,rep,name=m" protobuf_key:"bytes,1,opt,name=key" protobuf_val:"bytes,2,opt,name=value" thrift:"6"`
+	V    int64              `json:"v" protobuf:"varint,1,opt,name=v" thrift:"1"`
+	Next *Rec013            `json:"next,omitempty" protobuf:"bytes,2,opt,name=next" thrift:"2"`
+	Kids []Rec013           `json:"kids,omitempty" protobuf:"bytes,3,rep,name=kids" thrift:"3"`
+	Peer *Peer013           `json:"peer,omitempty" protobuf:"bytes,4,opt,name=peer" thrift:"4"`
+	S    string             `json:"s,omitempty" protobuf:"bytes,5,opt,name=s" thrift:"5"`
+	X00  int64              `json:"x0,omitempty" protobuf:"varint,20,opt,name=x0" thrift:"20"`
+	X01  int64              `json:"x1,omitempty" protobuf:"varint,21,opt,name=x1" thrift:"21"`
+	X02  int64              `json:"x2,omitempty" protobuf:"varint,22,opt,name=x2" thrift:"22"`
+	X03  int64              `json:"x3,omitempty" protobuf:"varint,23,opt,name=x3" thrift:"23"`
+	X04  int64              `json:"x4,omitempty" protobuf:"varint,24,opt,name=x4" thrift:"24"`
+	X05  int64              `json:"x5,omitempty" protobuf:"varint,25,opt,name=x5" thrift:"25"`
+	X06  int64              `json:"x6,omitempty" protobuf:"varint,26,opt,name=x6" thrift:"26"`
+	X07  int64              `json:"x7,omitempty" protobuf:"varint,27,opt,name=x7" thrift:"27"`
+	X08  int64              `json:"x8,omitempty" protobuf:"varint,28,opt,name=x8" thrift:"28"`
+	X09  int64              `json:"x9,omitempty" protobuf:"varint,29,opt,name=x9" thrift:"29"`
+	X10  int64              `json:"x10,omitempty" protobuf:"varint,30,opt,name=x10" thrift:"30"`
+	X11  int64              `json:"x11,omitempty" protobuf:"varint,31,opt,name=x11" thrift:"31"`
+	X12  int64              `json:"x12,omitempty" protobuf:"varint,32,opt,name=x12" thrift:"32"`
+	X13  int64              `json:"x13,omitempty" protobuf:"varint,33,opt,name=x13" thrift:"33"`
+	X14  int64              `json:"x14,omitempty" protobuf:"varint,34,opt,name=x14" thrift:"34"`
+	X15  int64              `json:"x15,omitempty" protobuf:"varint,35,opt,name=x15" thrift:"35"`
+	X16  int64              `json:"x16,omitempty" protobuf:"varint,36,opt,name=x16" thrift:"36"`
+	X17  int64              `json:"x17,omitempty" protobuf:"varint,37,opt,name=x17" thrift:"37"`
+	X18  int64              `json:"x18,omitempty" protobuf:"varint,38,opt,name=x18" thrift:"38"`
+	X19  int64              `json:"x19,omitempty" protobuf:"varint,39,opt,name=x19" thrift:"39"`
+	X20  int64              `json:"x20,omitempty" protobuf:"varint,40,opt,name=x20" thrift:"40"`
+	X21  int64              `json:"x21,omitempty" protobuf:"varint,41,opt,name=x21" thrift:"41"`
+	X22  int64              `json:"x22,omitempty" protobuf:"varint,42,opt,name=x22" thrift:"42"`
+	X23  int64              `json:"x23,omitempty" protobuf:"varint,43,opt,name=x23" thrift:"43"`
 }
 
 type Peer013 struct {
@@ -201,11 +551,36 @@ type Peer013 struct {
 }
 
 type Rec014 struct {
-	V    int64    `json:"v" protobuf:"varint,1,opt,name=v" thrift:"1"`
-	Next *Rec014  `json:"next,omitempty" protobuf:"bytes,2,opt,name=next" thrift:"2"`
-	Kids []Rec014 `json:"kids,omitempty" protobuf:"bytes,3,rep,name=kids" thrift:"3"`
-	Peer *Peer014 `json:"peer,omitempty" protobuf:"bytes,4,opt,name=peer" thrift:"4"`
-	S    string   `json:"s,omitempty" protobuf:"bytes,5,opt,name=s" thrift:"5"`
+	M    map[string]Peer014 `json:"m,omitempty" protobuf:"bytes,6,rep,name=m" protobuf_key:"bytes,1,opt,name=key" protobuf_val:"bytes,2,opt,name=value" thrift:"6"`
+	V    int64              `json:"v" protobuf:"varint,1,opt,name=v" thrift:"1"`
+	Next *Rec014            `json:"next,omitempty" protobuf:"bytes,2,opt,name=next" thrift:"2"`
+	Kids []Rec014           `json:"kids,omitempty" protobuf:"bytes,3,rep,name=kids" thrift:"3"`
+	Peer *Peer014           `json:"peer,omitempty" protobuf:"bytes,4,opt,name=peer" thrift:"4"`
+	S    string             `json:"s,omitempty" protobuf:"bytes,5,opt,name=s" thrift:"5"`
+	X00  int64              `json:"x0,omitempty" protobuf:"varint,20,opt,name=x0" thrift:"20"`
+	X01  int64              `json:"x1,omitempty" protobuf:"varint,21,opt,name=x1" thrift:"21"`
+	X02  int64              `json:"x2,omitempty" protobuf:"varint,22,opt,name=x2" thrift:"22"`
+	X03  int64              `json:"x3,omitempty" protobuf:"varint,23,opt,name=x3" thrift:"23"`
+	X04  int64              `json:"x4,omitempty" protobuf:"varint,24,opt,name=x4" thrift:"24"`
+	X05  int64              `json:"x5,omitempty" protobuf:"varint,25,opt,name=x5" thrift:"25"`
+	X06  int64              `json:"x6,omitempty" protobuf:"varint,26,opt,name=x6" thrift:"26"`
+	X07  int64              `json:"x7,omitempty" protobuf:"varint,27,opt,name=x7" thrift:"27"`
+	X08  int64              `json:"x8,omitempty" protobuf:"varint,28,opt,name=x8" thrift:"28"`
+	X09  int64              `json:"x9,omitempty" protobuf:"varint,29,opt,name=x9" thrift:"29"`
+	X10  int64              `json:"x10,omitempty" protobuf:"varint,30,opt,name=x10" thrift:"30"`
+	X11  int64              `json:"x11,omitempty" protobuf:"varint,31,opt,name=x11" thrift:"31"`
+	X12  int64              `json:"x12,omitempty" protobuf:"varint,32,opt,name=x12" thrift:"32"`
+	X13  int64              `json:"x13,omitempty" protobuf:"varint,33,opt,name=x13" thrift:"33"`
+	X14  int64              `json:"x14,omitempty" protobuf:"varint,34,opt,name=x14" thrift:"34"`
+	X15  int64              `json:"x15,omitempty" protobuf:"varint,35,opt,name=x15" thrift:"35"`
+	X16  int64              `json:"x16,omitempty" protobuf:"varint,36,opt,name=x16" thrift:"36"`
+	X17  int64              `json:"x17,omitempty" protobuf:"varint,37,opt,name=x17" thrift:"37"`
+	X18  int64              `json:"x18,omitempty" protobuf:"varint,38,opt,name=x18" thrift:"38"`
+	X19  int64              `json:"x19,omitempty" protobuf:"varint,39,opt,name=x19" thrift:"39"`
+	X20  int64              `json:"x20,omitempty" protobuf:"varint,40,opt,name=x20" thrift:"40"`
+	X21  int64              `json:"x21,omitempty" protobuf:"varint,41,opt,name=x21" thrift:"41"`
+	X22  int64              `json:"x22,omitempty" protobuf:"varint,42,opt,name=x22" thrift:"42"`
+	X23  int64              `json:"x23,omitempty" protobuf:"varint,43,opt,name=x23" thrift:"43"`
 }
 
 type Peer014 struct {
@@ -215,11 +590,36 @@ type Peer014 struct {
 }
 
 type Rec015 struct {
-	V    int64    `json:"v" protobuf:"varint,1,opt,name=v" thrift:"1"`
-	Next *Rec015  `json:"next,omitempty" protobuf:"bytes,2,opt,name=next" thrift:"2"`
-	Kids []Rec015 `json:"kids,omitempty" protobuf:"bytes,3,rep,name=kids" thrift:"3"`
-	Peer *Peer015 `json:"peer,omitempty" protobuf:"bytes,4,opt,name=peer" thrift:"4"`
-	S    string   `json:"s,omitempty" protobuf:"bytes,5,opt,name=s" thrift:"5"`
+	M    map[string]Peer015 `json:"m,omitempty" protobuf:"bytes,6,rep,name=m" protobuf_key:"bytes,1,opt,name=key" protobuf_val:"bytes,2,opt,name=value" thrift:"6"`
+	V    int64              `json:"v" protobuf:"varint,1,opt,name=v" thrift:"1"`
+	Next *Rec015            `json:"next,omitempty" protobuf:"bytes,2,opt,name=next" thrift:"2"`
+	Kids []Rec015           `json:"kids,omitempty" protobuf:"bytes,3,rep,name=kids" thrift:"3"`
+	Peer *Peer015           `json:"peer,omitempty" protobuf:"bytes,4,opt,name=peer" thrift:"4"`
+	S    string             `json:"s,omitempty" protobuf:"bytes,5,opt,name=s" thrift:"5"`
+	X00  int64              `json:"x0,omitempty" protobuf:"varint,20,opt,name=x0" thrift:"20"`
+	X01  int64              `json:"x1,omitempty" protobuf:"varint,21,opt,name=x1" thrift:"21"`
+	X02  int64              `json:"x2,omitempty" protobuf:"varint,22,opt,name=x2" thrift:"22"`
+	X03  int64              `json:"x3,omitempty" protobuf:"varint,23,opt,name=x3" thrift:"23"`
+	X04  int64              `json:"x4,omitempty" protobuf:"varint,24,opt,name=x4" thrift:"24"`
+	X05  int64              `json:"x5,omitempty" protobuf:"varint,25,opt,name=x5" thrift:"25"`
+	X06  int64              `json:"x6,omitempty" protobuf:"varint,26,opt,name=x6" thrift:"26"`
+	X07  int64              `json:"x7,omitempty" protobuf:"varint,27,opt,name=x7" thrift:"27"`
+	X08  int64              `json:"x8,omitempty" protobuf:"varint,28,opt,name=x8" thrift:"28"`
+	X09  int64              `json:"x9,omitempty" protobuf:"varint,29,opt,name=x9" thrift:"29"`
+	X10  int64              `json:"x10,omitempty" protobuf:"varint,30,opt,name=x10" thrift:"30"`
+	X11  int64              `json:"x11,omitempty" protobuf:"varint,31,opt,name=x11" thrift:"31"`
+	X12  int64              `json:"x12,omitempty" protobuf:"varint,32,opt,name=x12" thrift:"32"`
+	X13  int64              `json:"x13,omitempty" protobuf:"varint,33,opt,name=x13" thrift:"33"`
+	X14  int64              `json:"x14,omitempty" protobuf:"varint,34,opt,name=x14" thrift:"34"`
+	X15  int64              `json:"x15,omitempty" protobuf:"varint,35,opt,name=x15" thrift:"35"`
+	X16  int64              `json:"x16,omitempty" protobuf:"varint,36,opt,name=x16" thrift:"36"`
+	X17  int64              `json:"x17,omitempty" protobuf:"varint,37,opt,name=x17" thrift:"37"`
+	X18  int64              `json:"x18,omitempty" protobuf:"varint,38,opt,name=x18" thrift:"38"`
+	X19  int64              `json:"x19,omitempty" protobuf:"varint,39,opt,name=x19" thrift:"39"`
+	X20  int64              `json:"x20,omitempty" protobuf:"varint,40,opt,name=x20" thrift:"40"`
+	X21  int64              `json:"x21,omitempty" protobuf:"varint,41,opt,name=x21" thrift:"41"`
+	X22  int64              `json:"x22,omitempty" protobuf:"varint,42,opt,name=x22" thrift:"42"`
+	X23  int64              `json:"x23,omitempty" protobuf:"varint,43,opt,name=x23" thrift:"43"`
 }
 
 type Peer015 struct {
@@ -229,11 +629,36 @@ type Peer015 struct {
 }
 
 type Rec016 struct {
-	V    int64    `json:"v" protobuf:"varint,1,opt,name=v" thrift:"1"`
-	Next *Rec016  `json:"next,omitempty" protobuf:"bytes,2,opt,name=next" thrift:"2"`
-	Kids []Rec016 `json:"kids,omitempty" protobuf:"bytes,3,rep,name=kids" thrift:"3"`
-	Peer *Peer016 `json:"peer,omitempty" protobuf:"bytes,4,opt,name=peer" thrift:"4"`
-	S    string   `json:"s,omitempty" protobuf:"bytes,5,opt,name=s" thrift:"5"`
+	M    map[string]Peer016 `json:"m,omitempty" protobuf:"bytes,6,rep,name=m" protobuf_key:"bytes,1,opt,name=key" protobuf_val:"bytes,2,opt,name=value" thrift:"6"`
+	V    int64              `json:"v" protobuf:"varint,1,opt,name=v" thrift:"1"`
+	Next *Rec016            `json:"next,omitempty" protobuf:"bytes,2,opt,name=next" thrift:"2"`
+	Kids []Rec016           `json:"kids,omitempty" protobuf:"bytes,3,rep,name=kids" thrift:"3"`
+	Peer *Peer016           `json:"peer,omitempty" protobuf:"bytes,4,opt,name=peer" thrift:"4"`
+	S    string             `json:"s,omitempty" protobuf:"bytes,5,opt,name=s" thrift:"5"`
+	X00  int64              `json:"x0,omitempty" protobuf:"varint,20,opt,name=x0" thrift:"20"`
+	X01  int64              `json:"x1,omitempty" protobuf:"varint,21,opt,name=x1" thrift:"21"`
+	X02  int64              `json:"x2,omitempty" protobuf:"varint,22,opt,name=x2" thrift:"22"`
+	X03  int64              `json:"x3,omitempty" protobuf:"varint,23,opt,name=x3" thrift:"23"`
+	X04  int64              `json:"x4,omitempty" protobuf:"varint,24,opt,name=x4" thrift:"24"`
+	X05  int64              `json:"x5,omitempty" protobuf:"varint,25,opt,name=x5" thrift:"25"`
+	X06  int64              `json:"x6,omitempty" protobuf:"varint,26,opt,name=x6" thrift:"26"`
+	X07  int64              `json:"x7,omitempty" protobuf:"varint,27,opt,name=x7" thrift:"27"`
+	X08  int64              `json:"x8,omitempty" protobuf:"varint,28,opt,name=x8" thrift:"28"`
+	X09  int64              `json:"x9,omitempty" protobuf:"varint,29,opt,name=x9" thrift:"29"`
+	X10  int64              `json:"x10,omitempty" protobuf:"varint,30,opt,name=x10" thrift:"30"`
+	X11  int64              `json:"x11,omitempty" protobuf:"varint,31,opt,name=x11" thrift:"31"`
+	X12  int64              `json:"x12,omitempty" protobuf:"varint,32,opt,name=x12" thrift:"32"`
+	X13  int64              `json:"x13,omitempty" protobuf:"varint,33,opt,name=x13" thrift:"33"`
+	X14  int64              `json:"x14,omitempty" protobuf:"varint,34,opt,name=x14" thrift:"34"`
+	X15  int64              `json:"x15,omitempty" protobuf:"varint,35,opt,name=x15" thrift:"35"`
+	X16  int64              `json:"x16,omitempty" protobuf:"varint,36,opt,name=x16" thrift:"36"`
+	X17  int64              `json:"x17,omitempty" protobuf:"varint,37,opt,name=x17" thrift:"37"`
+	X18  int64              `json:"x18,omitempty" protobuf:"varint,38,opt,name=x18" thrift:"38"`
+	X19  int64              `json:"x19,omitempty" protobuf:"varint,39,opt,name=x19" thrift:"39"`
+	X20  int64              `json:"x20,omitempty" protobuf:"varint,40,opt,name=x20" thrift:"40"`
+	X21  int64              `json:"x21,omitempty" protobuf:"varint,41,opt,name=x21" thrift:"41"`
+	X22  int64              `json:"x22,omitempty" protobuf:"varint,42,opt,name=x22" thrift:"42"`
+	X23  int64              `json:"x23,omitempty" protobuf:"varint,43,opt,name=x23" thrift:"43"`
 }
 
 type Peer016 struct {
@@ -243,11 +668,36 @@ type Peer016 struct {
 }
 
 type Rec017 struct {
-	V    int64    `json:"v" protobuf:"varint,1,opt,name=v" thrift:"1"`
-	Next *Rec017  `json:"next,omitempty" protobuf:"bytes,2,opt,name=next" thrift:"2"`
-	Kids []Rec017 `json:"kids,omitempty" protobuf:"bytes,3,rep,name=kids" thrift:"3"`
-	Peer *Peer017 `json:"peer,omitempty" protobuf:"bytes,4,opt,name=peer" thrift:"4"`
-	S    string   `json:"s,omitempty" protobuf:"bytes,5,opt,name=s" thrift:"5"`
+	M    map[string]Peer017 `json:"m,omitempty" protobuf:"bytes,6,rep,name=m" protobuf_key:"bytes,1,opt,name=key" protobuf_val:"bytes,2,opt,name=value" thrift:"6"`
+	V    int64              `json:"v" protobuf:"varint,1,opt,name=v" thrift:"1"`
+	Next *Rec017            `json:"next,omitempty" protobuf:"bytes,2,opt,name=next" thrift:"2"`
+	Kids []Rec017           `json:"kids,omitempty" protobuf:"bytes,3,rep,name=kids" thrift:"3"`
+	Peer *Peer017           `json:"peer,omitempty" protobuf:"bytes,4,opt,name=peer" thrift:"4"`
+	S    string             `json:"s,omitempty" protobuf:"bytes,5,opt,name=s" thrift:"5"`
+	X00  int64              `json:"x0,omitempty" protobuf:"varint,20,opt,name=x0" thrift:"20"`
+	X01  int64              `json:"x1,omitempty" protobuf:"varint,21,opt,name=x1" thrift:"21"`
+	X02  int64              `json:"x2,omitempty" protobuf:"varint,22,opt,name=x2" thrift:"22"`
+	X03  int64              `json:"x3,omitempty" protobuf:"varint,23,opt,name=x3" thrift:"23"`
+	X04  int64              `json:"x4,omitempty" protobuf:"varint,24,opt,name=x4" thrift:"24"`
+	X05  int64              `json:"x5,omitempty" protobuf:"varint,25,opt,name=x5" thrift:"25"`
+	X06  int64              `json:"x6,omitempty" protobuf:"varint,26,opt,name=x6" thrift:"26"`
+	X07  int64              `json:"x7,omitempty" protobuf:"varint,27,opt,name=x7" thrift:"27"`
+	X08  int64              `json:"x8,omitempty" protobuf:"varint,28,opt,name=x8" thrift:"28"`
+	X09  int64              `json:"x9,omitempty" protobuf:"varint,29,opt,name=x9" thrift:"29"`
+	X10  int64              `json:"x10,omitempty" protobuf:"varint,30,opt,name=x10" thrift:"30"`
+	X11  int64              `json:"x11,omitempty" protobuf:"varint,31,opt,name=x11" thrift:"31"`
+	X12  int64              `json:"x12,omitempty" protobuf:"varint,32,opt,name=x12" thrift:"32"`
+	X13  int64              `json:"x13,omitempty" protobuf:"varint,33,opt,name=x13" thrift:"33"`
+	X14  int64              `json:"x14,omitempty" protobuf:"varint,34,opt,name=x14" thrift:"34"`
+	X15  int64              `json:"x15,omitempty" protobuf:"varint,35,opt,name=x15" thrift:"35"`
+	X16  int64              `json:"x16,omitempty" protobuf:"varint,36,opt,name=x16" thrift:"36"`
+	X17  int64              `json:"x17,omitempty" protobuf:"varint,37,opt,name=x17" thrift:"37"`
+	X18  int64              `json:"x18,omitempty" protobuf:"varint,38,opt,name=x18" thrift:"38"`
+	X19  int64              `json:"x19,omitempty" protobuf:"varint,39,opt,name=x19" thrift:"39"`
+	X20  int64              `json:"x20,omitempty" protobuf:"varint,40,opt,name=x20" thrift:"40"`
+	X21  int64              `json:"x21,omitempty" protobuf:"varint,41,opt,name=x21" thrift:"41"`
+	X22  int64              `json:"x22,omitempty" protobuf:"varint,42,opt,name=x22" thrift:"42"`
+	X23  int64              `json:"x23,omitempty" protobuf:"varint,43,opt,name=x23" thrift:"43"`
 }
 
 type Peer017 struct {
@@ -257,11 +707,36 @@ type Peer017 struct {
 }
 
 type Rec018 struct {
-	V    int64    `json:"v" protobuf:"varint,1,opt,name=v" thrift:"1"`
-	Next *Rec018  `json:"next,omitempty" protobuf:"bytes,2,opt,name=next" thrift:"2"`
-	Kids []Rec018 `json:"kids,omitempty" protobuf:"bytes,3,rep,name=kids" thrift:"3"`
-	Peer *Peer018 `json:"peer,omitempty" protobuf:"bytes,4,opt,name=peer" thrift:"4"`
-	S    string   `json:"s,omitempty" protobuf:"bytes,5,opt,name=s" thrift:"5"`
+	M    map[string]Peer018 `json:"m,omitempty" protobuf:"bytes,6,rep,name=m" protobuf_key:"bytes,1,opt,name=key" protobuf_val:"bytes,2,opt,name=value" thrift:"6"`
+	V    int64              `json:"v" protobuf:"varint,1,opt,name=v" thrift:"1"`
+	Next *Rec018            `json:"next,omitempty" protobuf:"bytes,2,opt,name=next" thrift:"2"`
+	Kids []Rec018           `json:"kids,omitempty" protobuf:"bytes,3,rep,name=kids" thrift:"3"`
+	Peer *Peer018           `json:"peer,omitempty" protobuf:"bytes,4,opt,name=peer" thrift:"4"`
+	S    string             `json:"s,omitempty" protobuf:"bytes,5,opt,name=s" thrift:"5"`
+	X00  int64              `json:"x0,omitempty" protobuf:"varint,20,opt,name=x0" thrift:"20"`
+	X01  int64              `json:"x1,omitempty" protobuf:"varint,21,opt,name=x1" thrift:"21"`
+	X02  int64              `json:"x2,omitempty" protobuf:"varint,22,opt,name=x2" thrift:"22"`
+	X03  int64              `json:"x3,omitempty" protobuf:"varint,23,opt,name=x3" thrift:"23"`
+	X04  int64              `json:"x4,omitempty" protobuf:"varint,24,opt,name=x4" thrift:"24"`
+	X05  int64              `json:"x5,omitempty" protobuf:"varint,25,opt,name=x5" thrift:"25"`
+	X06  int64              `json:"x6,omitempty" protobuf:"varint,26,opt,name=x6" thrift:"26"`
+	X07  int64              `json:"x7,omitempty" protobuf:"varint,27,opt,name=x7" thrift:"27"`
+	X08  int64              `json:"x8,omitempty" protobuf:"varint,28,opt,name=x8" thrift:"28"`
+	X09  int64              `json:"x9,omitempty" protobuf:"varint,29,opt,name=x9" thrift:"29"`
+	X10  int64              `json:"x10,omitempty" protobuf:"varint,30,opt,name=x10" thrift:"30"`
+	X11  int64              `json:"x11,omitempty" protobuf:"varint,31,opt,name=x11" thrift:"31"`
+	X12  int64              `json:"x12,omitempty" protobuf:"varint,32,opt,name=x12" thrift:"32"`
+	X13  int64              `json:"x13,omitempty" protobuf:"varint,33,opt,name=x13" thrift:"33"`
+	X14  int64              `json:"x14,omitempty" protobuf:"varint,34,opt,name=x14" thrift:"34"`
+	X15  int64              `json:"x15,omitempty" protobuf:"varint,35,opt,name=x15" thrift:"35"`
+	X16  int64              `json:"x16,omitempty" protobuf:"varint,36,opt,name=x16" thrift:"36"`
+	X17  int64              `json:"x17,omitempty" protobuf:"varint,37,opt,name=x17" thrift:"37"`
+	X18  int64              `json:"x18,omitempty" protobuf:"varint,38,opt,name=x18" thrift:"38"`
+	X19  int64              `json:"x19,omitempty" protobuf:"varint,39,opt,name=x19" thrift:"39"`
+	X20  int64              `json:"x20,omitempty" protobuf:"varint,40,opt,name=x20" thrift:"40"`
+	X21  int64              `json:"x21,omitempty" protobuf:"varint,41,opt,name=x21" thrift:"41"`
+	X22  int64              `json:"x22,omitempty" protobuf:"varint,42,opt,name=x22" thrift:"42"`
+	X23  int64              `json:"x23,omitempty" protobuf:"varint,43,opt,name=x23" thrift:"43"`
 }
 
 type Peer018 struct {
@@ -271,11 +746,36 @@ type Peer018 struct {
 }
 
 type Rec019 struct {
-	V    int64    `json:"v" protobuf:"varint,1,opt,name=v" thrift:"1"`
-	Next *Rec019  `json:"next,omitempty" protobuf:"bytes,2,opt,name=next" thrift:"2"`
-	Kids []Rec019 `json:"kids,omitempty" protobuf:"bytes,3,rep,name=kids" thrift:"3"`
-	Peer *Peer019 `json:"peer,omitempty" protobuf:"bytes,4,opt,name=peer" thrift:"4"`
-	S    string   `json:"s,omitempty" protobuf:"bytes,5,opt,name=s" thrift:"5"`
+	M    map[string]Peer019 `json:"m,omitempty" protobuf:"bytes,6,rep,name=m" protobuf_key:"bytes,1,opt,name=key" protobuf_val:"bytes,2,opt,name=value" thrift:"6"`
+	V    int64              `json:"v" protobuf:"varint,1,opt,name=v" thrift:"1"`
+	Next *Rec019            `json:"next,omitempty" protobuf:"bytes,2,opt,name=next" thrift:"2"`
+	Kids []Rec019           `json:"kids,omitempty" protobuf:"bytes,3,rep,name=kids" thrift:"3"`
+	Peer *Peer019           `json:"peer,omitempty" protobuf:"bytes,4,opt,name=peer" thrift:"4"`
+	S    string             `json:"s,omitempty" protobuf:"bytes,5,opt,name=s" thrift:"5"`
+	X00  int64              `json:"x0,omitempty" protobuf:"varint,20,opt,name=x0" thrift:"20"`
+	X01  int64              `json:"x1,omitempty" protobuf:"varint,21,opt,name=x1" thrift:"21"`
+	X02  int64              `json:"x2,omitempty" protobuf:"varint,22,opt,name=x2" thrift:"22"`
+	X03  int64              `json:"x3,omitempty" protobuf:"varint,23,opt,name=x3" thrift:"23"`
+	X04  int64              `json:"x4,omitempty" protobuf:"varint,24,opt,name=x4" thrift:"24"`
+	X05  int64              `json:"x5,omitempty" protobuf:"varint,25,opt,name=x5" thrift:"25"`
+	X06  int64              `json:"x6,omitempty" protobuf:"varint,26,opt,name=x6" thrift:"26"`
+	X07  int64              `json:"x7,omitempty" protobuf:"varint,27,opt,name=x7" thrift:"27"`
+	X08  int64              `json:"x8,omitempty" protobuf:"varint,28,opt,name=x8" thrift:"28"`
+	X09  int64              `json:"x9,omitempty" protobuf:"varint,29,opt,name=x9" thrift:"29"`
+	X10  int64              `json:"x10,omitempty" protobuf:"varint,30,opt,name=x10" thrift:"30"`
+	X11  int64              `json:"x11,omitempty" protobuf:"varint,31,opt,name=x11" thrift:"31"`
+	X12  int64              `json:"x12,omitempty" protobuf:"varint,32,opt,name=x12" thrift:"32"`
+	X13  int64              `json:"x13,omitempty" protobuf:"varint,33,opt,name=x13" thrift:"33"`
+	X14  int64              `json:"x14,omitempty" protobuf:"varint,34,opt,name=x14" thrift:"34"`
+	X15  int64              `json:"x15,omitempty" protobuf:"varint,35,opt,name=x15" thrift:"35"`
+	X16  int64              `json:"x16,omitempty" protobuf:"varint,36,opt,name=x16" thrift:"36"`
+	X17  int64              `json:"x17,omitempty" protobuf:"varint,37,opt,name=x17" thrift:"37"`
+	X18  int64              `json:"x18,omitempty" protobuf:"varint,38,opt,name=x18" thrift:"38"`
+	X19  int64              `json:"x19,omitempty" protobuf:"varint,39,opt,name=x19" thrift:"39"`
+	X20  int64              `json:"x20,omitempty" protobuf:"varint,40,opt,name=x20" thrift:"40"`
+	X21  int64              `json:"x21,omitempty" protobuf:"varint,41,opt,name=x21" thrift:"41"`
+	X22  int64              `json:"x22,omitempty" protobuf:"varint,42,opt,name=x22" thrift:"42"`
+	X23  int64              `json:"x23,omitempty" protobuf:"varint,43,opt,name=x23" thrift:"43"`
 }
 
 type Peer019 struct {
@@ -285,11 +785,36 @@ type Peer019 struct {
 }
 
 type Rec020 struct {
-	V    int64    `json:"v" protobuf:"varint,1,opt,name=v" thrift:"1"`
-	Next *Rec020  `json:"next,omitempty" protobuf:"bytes,2,opt,name=next" thrift:"2"`
-	Kids []Rec020 `json:"kids,omitempty" protobuf:"bytes,3,rep,name=kids" thrift:"3"`
-	Peer *Peer020 `json:"peer,omitempty" protobuf:"bytes,4,opt,name=peer" thrift:"4"`
-	S    string   `json:"s,omitempty" protobuf:"bytes,5,opt,name=s" thrift:"5"`
+	M    map[string]Peer020 `json:"m,omitempty" protobuf:"bytes,6,rep,name=m" protobuf_key:"bytes,1,opt,name=key" protobuf_val:"bytes,2,opt,name=value" thrift:"6"`
+	V    int64              `json:"v" protobuf:"varint,1,opt,name=v" thrift:"1"`
+	Next *Rec020            `json:"next,omitempty" protobuf:"bytes,2,opt,name=next" thrift:"2"`
+	Kids []Rec020           `json:"kids,omitempty" protobuf:"bytes,3,rep,name=kids" thrift:"3"`
+	Peer *Peer020           `json:"peer,omitempty" protobuf:"bytes,4,opt,name=peer" thrift:"4"`
+	S    string             `json:"s,omitempty" protobuf:"bytes,5,opt,name=s" thrift:"5"`
+	X00  int64              `json:"x0,omitempty" protobuf:"varint,20,opt,name=x0" thrift:"20"`
+	X01  int64              `json:"x1,omitempty" protobuf:"varint,21,opt,name=x1" thrift:"21"`
+	X02  int64              `json:"x2,omitempty" protobuf:"varint,22,opt,name=x2" thrift:"22"`
+	X03  int64              `json:"x3,omitempty" protobuf:"varint,23,opt,name=x3" thrift:"23"`
+	X04  int64              `json:"x4,omitempty" protobuf:"varint,24,opt,name=x4" thrift:"24"`
+	X05  int64              `json:"x5,omitempty" protobuf:"varint,25,opt,name=x5" thrift:"25"`
+	X06  int64              `json:"x6,omitempty" protobuf:"varint,26,opt,name=x6" thrift:"26"`
+	X07  int64              `json:"x7,omitempty" protobuf:"varint,27,opt,name=x7" thrift:"27"`
+	X08  int64              `json:"x8,omitempty" protobuf:"varint,28,opt,name=x8" thrift:"28"`
+	X09  int64              `json:"x9,omitempty" protobuf:"varint,29,opt,name=x9" thrift:"29"`
+	X10  int64              `json:"x10,omitempty" protobuf:"varint,30,opt,name=x10" thrift:"30"`
+	X11  int64              `json:"x11,omitempty" protobuf:"varint,31,opt,name=x11" thrift:"31"`
+	X12  int64              `json:"x12,omitempty" protobuf:"varint,32,opt,name=x12" thrift:"32"`
+	X13  int64              `json:"x13,omitempty" protobuf:"varint,33,opt,name=x13" thrift:"33"`
+	X14  int64              `json:"x14,omitempty" protobuf:"varint,34,opt,name=x14" thrift:"34"`
+	X15  int64              `json:"x15,omitempty" protobuf:"varint,35,opt,name=x15" thrift:"35"`
+	X16  int64              `json:"x16,omitempty" protobuf:"varint,36,opt,name=x16" thrift:"36"`
+	X17  int64              `json:"x17,omitempty" protobuf:"varint,37,opt,name=x17" thrift:"37"`
+	X18  int64              `json:"x18,omitempty" protobuf:"varint,38,opt,name=x18" thrift:"38"`
+	X19  int64              `json:"x19,omitempty" protobuf:"varint,39,opt,name=x19" thrift:"39"`
+	X20  int64              `json:"x20,omitempty" protobuf:"varint,40,opt,name=x20" thrift:"40"`
+	X21  int64              `json:"x21,omitempty" protobuf:"varint,41,opt,name=x21" thrift:"41"`
+	X22  int64              `json:"x22,omitempty" protobuf:"varint,42,opt,name=x22" thrift:"42"`
+	X23  int64              `json:"x23,omitempty" protobuf:"varint,43,opt,name=x23" thrift:"43"`
 }
 
 type Peer020 struct {
@@ -299,11 +824,36 @@ type Peer020 struct {
 }
 
 type Rec021 struct {
-	V    int64    `json:"v" protobuf:"varint,1,opt,name=v" thrift:"1"`
-	Next *Rec021  `json:"next,omitempty" protobuf:"bytes,2,opt,name=next" thrift:"2"`
-	Kids []Rec021 `json:"kids,omitempty" protobuf:"bytes,3,rep,name=kids" thrift:"3"`
-	Peer *Peer021 `json:"peer,omitempty" protobuf:"bytes,4,opt,name=peer" thrift:"4"`
-	S    string   `json:"s,omitempty" protobuf:"bytes,5,opt,name=s" thrift:"5"`
+	M    map[string]Peer021 `json:"m,omitempty" protobuf:"bytes,6,rep,name=m" protobuf_key:"bytes,1,opt,name=key" protobuf_val:"bytes,2,opt,name=value" thrift:"6"`
+	V    int64              `json:"v" protobuf:"varint,1,opt,name=v" thrift:"1"`
+	Next *Rec021            `json:"next,omitempty" protobuf:"bytes,2,opt,name=next" thrift:"2"`
+	Kids []Rec021           `json:"kids,omitempty" protobuf:"bytes,3,rep,name=kids" thrift:"3"`
+	Peer *Peer021           `json:"peer,omitempty" protobuf:"bytes,4,opt,name=peer" thrift:"4"`
+	S    string             `json:"s,omitempty" protobuf:"bytes,5,opt,name=s" thrift:"5"`
+	X00  int64              `json:"x0,omitempty" protobuf:"varint,20,opt,name=x0" thrift:"20"`
+	X01  int64              `json:"x1,omitempty" protobuf:"varint,21,opt,name=x1" thrift:"21"`
+	X02  int64              `json:"x2,omitempty" protobuf:"varint,22,opt,name=x2" thrift:"22"`
+	X03  int64              `json:"x3,omitempty" protobuf:"varint,23,opt,name=x3" thrift:"23"`
+	X04  int64              `json:"x4,omitempty" protobuf:"varint,24,opt,name=x4" thrift:"24"`
+	X05  int64              `json:"x5,omitempty" protobuf:"varint,25,opt,name=x5" thrift:"25"`
+	X06  int64              `json:"x6,omitempty" protobuf:"varint,26,opt,name=x6" thrift:"26"`
+	X07  int64              `json:"x7,omitempty" protobuf:"varint,27,opt,name=x7" thrift:"27"`
+	X08  int64              `json:"x8,omitempty" protobuf:"varint,28,opt,name=x8" thrift:"28"`
+	X09  int64              `json:"x9,omitempty" protobuf:"varint,29,opt,name=x9" thrift:"29"`
+	X10  int64              `json:"x10,omitempty" protobuf:"varint,30,opt,name=x10" thrift:"30"`
+	X11  int64              `json:"x11,omitempty" protobuf:"varint,31,opt,name=x11" thrift:"31"`
+	X12  int64              `json:"x12,omitempty" protobuf:"varint,32,opt,name=x12" thrift:"32"`
+	X13  int64              `json:"x13,omitempty" protobuf:"varint,33,opt,name=x13" thrift:"33"`
+	X14  int64              `json:"x14,omitempty" protobuf:"varint,34,opt,name=x14" thrift:"34"`
+	X15  int64              `json:"x15,omitempty" protobuf:"varint,35,opt,name=x15" thrift:"35"`
+	X16  int64              `json:"x16,omitempty" protobuf:"varint,36,opt,name=x16" thrift:"36"`
+	X17  int64              `json:"x17,omitempty" protobuf:"varint,37,opt,name=x17" thrift:"37"`
+	X18  int64              `json:"x18,omitempty" protobuf:"varint,38,opt,name=x18" thrift:"38"`
+	X19  int64              `json:"x19,omitempty" protobuf:"varint,39,opt,name=x19" thrift:"39"`
+	X20  int64              `json:"x20,omitempty" protobuf:"varint,40,opt,name=x20" thrift:"40"`
+	X21  int64              `json:"x21,omitempty" protobuf:"varint,41,opt,name=x21" thrift:"41"`
+	X22  int64              `json:"x22,omitempty" protobuf:"varint,42,opt,name=x22" thrift:"42"`
+	X23  int64              `json:"x23,omitempty" protobuf:"varint,43,opt,name=x23" thrift:"43"`
 }
 
 type Peer021 struct {
@@ -313,11 +863,36 @@ type Peer021 struct {
 }
 
 type Rec022 struct {
-	V    int64    `json:"v" protobuf:"varint,1,opt,name=v" thrift:"1"`
-	Next *Rec022  `json:"next,omitempty" protobuf:"bytes,2,opt,name=next" thrift:"2"`
-	Kids []Rec022 `json:"kids,omitempty" protobuf:"bytes,3,rep,name=kids" thrift:"3"`
-	Peer *Peer022 `json:"peer,omitempty" protobuf:"bytes,4,opt,name=peer" thrift:"4"`
-	S    string   `json:"s,omitempty" protobuf:"bytes,5,opt,name=s" thrift:"5"`
+	M    map[string]Peer022 `json:"m,omitempty" protobuf:"bytes,6,rep,name=m" protobuf_key:"bytes,1,opt,name=key" protobuf_val:"bytes,2,opt,name=value" thrift:"6"`
+	V    int64              `json:"v" protobuf:"varint,1,opt,name=v" thrift:"1"`
+	Next *Rec022            `json:"next,omitempty" protobuf:"bytes,2,opt,name=next" thrift:"2"`
+	Kids []Rec022           `json:"kids,omitempty" protobuf:"bytes,3,rep,name=kids" thrift:"3"`
+	Peer *Peer022           `json:"peer,omitempty" protobuf:"bytes,4,opt,name=peer" thrift:"4"`
+	S    string             `json:"s,omitempty" protobuf:"bytes,5,opt,name=s" thrift:"5"`
+	X00  int64              `json:"x0,omitempty" protobuf:"varint,20,opt,name=x0" thrift:"20"`
+	X01  int64              `json:"x1,omitempty" protobuf:"varint,21,opt,name=x1" thrift:"21"`
+	X02  int64              `json:"x2,omitempty" protobuf:"varint,22,opt,name=x2" thrift:"22"`
+	X03  int64              `json:"x3,omitempty" protobuf:"varint,23,opt,name=x3" thrift:"23"`
+	X04  int64              `json:"x4,omitempty" protobuf:"varint,24,opt,name=x4" thrift:"24"`
+	X05  int64              `json:"x5,omitempty" protobuf:"varint,25,opt,name=x5" thrift:"25"`
+	X06  int64              `json:"x6,omitempty" protobuf:"varint,26,opt,name=x6" thrift:"26"`
+	X07  int64              `json:"x7,omitempty" protobuf:"varint,27,opt,name=x7" thrift:"27"`
+	X08  int64              `json:"x8,omitempty" protobuf:"varint,28,opt,name=x8" thrift:"28"`
+	X09  int64              `json:"x9,omitempty" protobuf:"varint,29,opt,name=x9" thrift:"29"`
+	X10  int64              `json:"x10,omitempty" protobuf:"varint,30,opt,name=x10" thrift:"30"`
+	X11  int64              `json:"x11,omitempty" protobuf:"varint,31,opt,name=x11" thrift:"31"`
+	X12  int64              `json:"x12,omitempty" protobuf:"varint,32,opt,name=x12" thrift:"32"`
+	X13  int64              `json:"x13,omitempty" protobuf:"varint,33,opt,name=x13" thrift:"33"`
+	X14  int64              `json:"x14,omitempty" protobuf:"varint,34,opt,name=x14" thrift:"34"`
+	X15  int64              `json:"x15,omitempty" protobuf:"varint,35,opt,name=x15" thrift:"35"`
+	X16  int64              `json:"x16,omitempty" protobuf:"varint,36,opt,name=x16" thrift:"36"`
+	X17  int64              `json:"x17,omitempty" protobuf:"varint,37,opt,name=x17" thrift:"37"`
+	X18  int64              `json:"x18,omitempty" protobuf:"varint,38,opt,name=x18" thrift:"38"`
+	X19  int64              `json:"x19,omitempty" protobuf:"varint,39,opt,name=x19" thrift:"39"`
+	X20  int64              `json:"x20,omitempty" protobuf:"varint,40,opt,name=x20" thrift:"40"`
+	X21  int64              `json:"x21,omitempty" protobuf:"varint,41,opt,name=x21" thrift:"41"`
+	X22  int64              `json:"x22,omitempty" protobuf:"varint,42,opt,name=x22" thrift:"42"`
+	X23  int64              `json:"x23,omitempty" protobuf:"varint,43,opt,name=x23" thrift:"43"`
 }
 
 type Peer022 struct {
@@ -327,11 +902,36 @@ type Peer022 struct {
 }
 
 type Rec023 struct {
-	V    int64    `json:"v" protobuf:"varint,1,opt,name=v" thrift:"1"`
-	Next *Rec023  `json:"next,omitempty" protobuf:"bytes,2,opt,name=next" thrift:"2"`
-	Kids []Rec023 `json:"kids,omitempty" protobuf:"bytes,3,rep,name=kids" thrift:"3"`
-	Peer *Peer023 `json:"peer,omitempty" protobuf:"bytes,4,opt,name=peer" thrift:"4"`
-	S    string   `json:"s,omitempty" protobuf:"bytes,5,opt,name=s" thrift:"5"`
+	M    map[string]Peer023 `json:"m,omitempty" protobuf:"bytes,6,rep,name=m" protobuf_key:"bytes,1,opt,name=key" protobuf_val:"bytes,2,opt,name=value" thrift:"6"`
+	V    int64              `json:"v" protobuf:"varint,1,opt,name=v" thrift:"1"`
+	Next *Rec023            `json:"next,omitempty" protobuf:"bytes,2,opt,name=next" thrift:"2"`
+	Kids []Rec023           `json:"kids,omitempty" protobuf:"bytes,3,rep,name=kids" thrift:"3"`
+	Peer *Peer023           `json:"peer,omitempty" protobuf:"bytes,4,opt,name=peer" thrift:"4"`
+	S    string             `json:"s,omitempty" protobuf:"bytes,5,opt,name=s" thrift:"5"`
+	X00  int64              `json:"x0,omitempty" protobuf:"varint,20,opt,name=x0" thrift:"20"`
+	X01  int64              `json:"x1,omitempty" protobuf:"varint,21,opt,name=x1" thrift:"21"`
+	X02  int64              `json:"x2,omitempty" protobuf:"varint,22,opt,name=x2" thrift:"22"`
+	X03  int64              `json:"x3,omitempty" protobuf:"varint,23,opt,name=x3" thrift:"23"`
+	X04  int64              `json:"x4,omitempty" protobuf:"varint,24,opt,name=x4" thrift:"24"`
+	X05  int64              `json:"x5,omitempty" protobuf:"varint,25,opt,name=x5" thrift:"25"`
+	X06  int64              `json:"x6,omitempty" protobuf:"varint,26,opt,name=x6" thrift:"26"`
+	X07  int64              `json:"x7,omitempty" protobuf:"varint,27,opt,name=x7" thrift:"27"`
+	X08  int64              `json:"x8,omitempty" protobuf:"varint,28,opt,name=x8" thrift:"28"`
+	X09  int64              `json:"x9,omitempty" protobuf:"varint,29,opt,name=x9" thrift:"29"`
+	X10  int64              `json:"x10,omitempty" protobuf:"varint,30,opt,name=x10" thrift:"30"`
+	X11  int64              `json:"x11,omitempty" protobuf:"varint,31,opt,name=x11" thrift:"31"`
+	X12  int64              `json:"x12,omitempty" protobuf:"varint,32,opt,name=x12" thrift:"32"`
+	X13  int64              `json:"x13,omitempty" protobuf:"varint,33,opt,name=x13" thrift:"33"`
+	X14  int64              `json:"x14,omitempty" protobuf:"varint,34,opt,name=x14" thrift:"34"`
+	X15  int64              `json:"x15,omitempty" protobuf:"varint,35,opt,name=x15" thrift:"35"`
+	X16  int64              `json:"x16,omitempty" protobuf:"varint,36,opt,name=x16" thrift:"36"`
+	X17  int64              `json:"x17,omitempty" protobuf:"varint,37,opt,name=x17" thrift:"37"`
+	X18  int64              `json:"x18,omitempty" protobuf:"varint,38,opt,name=x18" thrift:"38"`
+	X19  int64              `json:"x19,omitempty" protobuf:"varint,39,opt,name=x19" thrift:"39"`
+	X20  int64              `json:"x20,omitempty" protobuf:"varint,40,opt,name=x20" thrift:"40"`
+	X21  int64              `json:"x21,omitempty" protobuf:"varint,41,opt,name=x21" thrift:"41"`
+	X22  int64              `json:"x22,omitempty" protobuf:"varint,42,opt,name=x22" thrift:"42"`
+	X23  int64              `json:"x23,omitempty" protobuf:"varint,43,opt,name=x23" thrift:"43"`
 }
 
 type Peer023 struct {
@@ -341,11 +941,36 @@ type Peer023 struct {
 }
 
 type Rec024 struct {
-	V    int64    `json:"v" protobuf:"varint,1,opt,name=v" thrift:"1"`
-	Next *Rec024  `json:"next,omitempty" protobuf:"bytes,2,opt,name=next" thrift:"2"`
-	Kids []Rec024 `json:"kids,omitempty" protobuf:"bytes,3,rep,name=kids" thrift:"3"`
-	Peer *Peer024 `json:"peer,omitempty" protobuf:"bytes,4,opt,name=peer" thrift:"4"`
-	S    string   `json:"s,omitempty" protobuf:"bytes,5,opt,name=s" thrift:"5"`
+	M    map[string]Peer024 `json:"m,omitempty" protobuf:"bytes,6,rep,name=m" protobuf_key:"bytes,1,opt,name=key" protobuf_val:"bytes,2,opt,name=value" thrift:"6"`
+	V    int64              `json:"v" protobuf:"varint,1,opt,name=v" thrift:"1"`
+	Next *Rec024            `json:"next,omitempty" protobuf:"bytes,2,opt,name=next" thrift:"2"`
+	Kids []Rec024           `json:"kids,omitempty" protobuf:"bytes,3,rep,name=kids" thrift:"3"`
+	Peer *Peer024           `json:"peer,omitempty" protobuf:"bytes,4,opt,name=peer" thrift:"4"`
+	S    string             `json:"s,omitempty" protobuf:"bytes,5,opt,name=s" thrift:"5"`
+	X00  int64              `json:"x0,omitempty" protobuf:"varint,20,opt,name=x0" thrift:"20"`
+	X01  int64              `json:"x1,omitempty" protobuf:"varint,21,opt,name=x1" thrift:"21"`
+	X02  int64              `json:"x2,omitempty" protobuf:"varint,22,opt,name=x2" thrift:"22"`
+	X03  int64              `json:"x3,omitempty" protobuf:"varint,23,opt,name=x3" thrift:"23"`
+	X04  int64              `json:"x4,omitempty" protobuf:"varint,24,opt,name=x4" thrift:"24"`
+	X05  int64              `json:"x5,omitempty" protobuf:"varint,25,opt,name=x5" thrift:"25"`
+	X06  int64              `json:"x6,omitempty" protobuf:"varint,26,opt,name=x6" thrift:"26"`
+	X07  int64              `json:"x7,omitempty" protobuf:"varint,27,opt,name=x7" thrift:"27"`
+	X08  int64              `json:"x8,omitempty" protobuf:"varint,28,opt,name=x8" thrift:"28"`
+	X09  int64              `json:"x9,omitempty" protobuf:"varint,29,opt,name=x9" thrift:"29"`
+	X10  int64              `json:"x10,omitempty" protobuf:"varint,30,opt,name=x10" thrift:"30"`
+	X11  int64              `json:"x11,omitempty" protobuf:"varint,31,opt,name=x11" thrift:"31"`
+	X12  int64              `json:"x12,omitempty" protobuf:"varint,32,opt,name=x12" thrift:"32"`
+	X13  int64              `json:"x13,omitempty" protobuf:"varint,33,opt,name=x13" thrift:"33"`
+	X14  int64              `json:"x14,omitempty" protobuf:"varint,34,opt,name=x14" thrift:"34"`
+	X15  int64              `json:"x15,omitempty" protobuf:"varint,35,opt,name=x15" thrift:"35"`
+	X16  int64              `json:"x16,omitempty" protobuf:"varint,36,opt,name=x16" thrift:"36"`
+	X17  int64              `json:"x17,omitempty" protobuf:"varint,37,opt,name=x17" thrift:"37"`
+	X18  int64              `json:"x18,omitempty" protobuf:"varint,38,opt,name=x18" thrift:"38"`
+	X19  int64              `json:"x19,omitempty" protobuf:"varint,39,opt,name=x19" thrift:"39"`
+	X20  int64              `json:"x20,omitempty" protobuf:"varint,40,opt,name=x20" thrift:"40"`
+	X21  int64              `json:"x21,omitempty" protobuf:"varint,41,opt,name=x21" thrift:"41"`
+	X22  int64              `json:"x22,omitempty" protobuf:"varint,42,opt,name=x22" thrift:"42"`
+	X23  int64              `json:"x23,omitempty" protobuf:"varint,43,opt,name=x23" thrift:"43"`
 }
 
 type Peer024 struct {
@@ -355,11 +980,36 @@ type Peer024 struct {
 }
 
 type Rec025 struct {
-	V    int64    `json:"v" protobuf:"varint,1,opt,name=v" thrift:"1"`
-	Next *Rec025  `json:"next,omitempty" protobuf:"bytes,2,opt,name=next" thrift:"2"`
-	Kids []Rec025 `json:"kids,omitempty" protobuf:"bytes,3,rep,name=kids" thrift:"3"`
-	Peer *Peer025 `json:"peer,omitempty" protobuf:"bytes,4,opt,name=peer" thrift:"4"`
-	S    string   `json:"s,omitempty" protobuf:"bytes,5,opt,name=s" thrift:"5"`
+	M    map[string]Peer025 `json:"m,omitempty" protobuf:"bytes,6,rep,name=m" protobuf_key:"bytes,1,opt,name=key" protobuf_val:"bytes,2,opt,name=value" thrift:"6"`
+	V    int64              `json:"v" protobuf:"varint,1,opt,name=v" thrift:"1"`
+	Next *Rec025            `json:"next,omitempty" protobuf:"bytes,2,opt,name=next" thrift:"2"`
+	Kids []Rec025           `json:"kids,omitempty" protobuf:"bytes,3,rep,name=kids" thrift:"3"`
+	Peer *Peer025           `json:"peer,omitempty" protobuf:"bytes,4,opt,name=peer" thrift:"4"`
+	S    string             `json:"s,omitempty" protobuf:"bytes,5,opt,name=s" thrift:"5"`
+	X00  int64              `json:"x0,omitempty" protobuf:"varint,20,opt,name=x0" thrift:"20"`
+	X01  int64              `json:"x1,omitempty" protobuf:"varint,21,opt,name=x1" thrift:"21"`
+	X02  int64              `json:"x2,omitempty" protobuf:"varint,22,opt,name=x2" thrift:"22"`
+	X03  int64              `json:"x3,omitempty" protobuf:"varint,23,opt,name=x3" thrift:"23"`
+	X04  int64              `json:"x4,omitempty" protobuf:"varint,24,opt,name=x4" thrift:"24"`
+	X05  int64              `json:"x5,omitempty" protobuf:"varint,25,opt,name=x5" thrift:"25"`
+	X06  int64              `json:"x6,omitempty" protobuf:"varint,26,opt,name=x6" thrift:"26"`
+	X07  int64              `json:"x7,omitempty" protobuf:"varint,27,opt,name=x7" thrift:"27"`
+	X08  int64              `json:"x8,omitempty" protobuf:"varint,28,opt,name=x8" thrift:"28"`
+	X09  int64              `json:"x9,omitempty" protobuf:"varint,29,opt,name=x9" thrift:"29"`
+	X10  int64              `json:"x10,omitempty" protobuf:"varint,30,opt,name=x10" thrift:"30"`
+	X11  int64              `json:"x11,omitempty" protobuf:"varint,31,opt,name=x11" thrift:"31"`
+	X12  int64              `json:"x12,omitempty" protobuf:"varint,32,opt,name=x12" thrift:"32"`
+	X13  int64              `json:"x13,omitempty" protobuf:"varint,33,opt,name=x13" thrift:"33"`
+	X14  int64              `json:"x14,omitempty" protobuf:"varint,34,opt,name=x14" thrift:"34"`
+	X15  int64              `json:"x15,omitempty" protobuf:"varint,35,opt,name=x15" thrift:"35"`
+	X16  int64              `json:"x16,omitempty" protobuf:"varint,36,opt,name=x16" thrift:"36"`
+	X17  int64              `json:"x17,omitempty" protobuf:"varint,37,opt,name=x17" thrift:"37"`
+	X18  int64              `json:"x18,omitempty" protobuf:"varint,38,opt,name=x18" thrift:"38"`
+	X19  int64              `json:"x19,omitempty" protobuf:"varint,39,opt,name=x19" thrift:"39"`
+	X20  int64              `json:"x20,omitempty" protobuf:"varint,40,opt,name=x20" thrift:"40"`
+	X21  int64              `json:"x21,omitempty" protobuf:"varint,41,opt,name=x21" thrift:"41"`
+	X22  int64              `json:"x22,omitempty" protobuf:"varint,42,opt,name=x22" thrift:"42"`
+	X23  int64              `json:"x23,omitempty" protobuf:"varint,43,opt,name=x23" thrift:"43"`
 }
 
 type Peer025 struct {
@@ -369,11 +1019,36 @@ type Peer025 struct {
 }
 
 type Rec026 struct {
-	V    int64    `json:"v" protobuf:"varint,1,opt,name=v" thrift:"1"`
-	Next *Rec026  `json:"next,omitempty" protobuf:"bytes,2,opt,name=next" thrift:"2"`
-	Kids []Rec026 `json:"kids,omitempty" protobuf:"bytes,3,rep,name=kids" thrift:"3"`
-	Peer *Peer026 `json:"peer,omitempty" protobuf:"bytes,4,opt,name=peer" thrift:"4"`
-	S    string   `json:"s,omitempty" protobuf:"bytes,5,opt,name=s" thrift:"5"`
+	M    map[string]Peer026 `json:"m,omitempty" protobuf:"bytes,6,rep,name=m" protobuf_key:"bytes,1,opt,name=key" protobuf_val:"bytes,2,opt,name=value" thrift:"6"`
+	V    int64              `json:"v" protobuf:"varint,1,opt,name=v" thrift:"1"`
+	Next *Rec026            `json:"next,omitempty" protobuf:"bytes,2,opt,name=next" thrift:"2"`
+	Kids []Rec026           `json:"kids,omitempty" protobuf:"bytes,3,rep,name=kids" thrift:"3"`
+	Peer *Peer026           `json:"peer,omitempty" protobuf:"bytes,4,opt,name=peer" thrift:"4"`
+	S    string             `json:"s,omitempty" protobuf:"bytes,5,opt,name=s" thrift:"5"`
+	X00  int64              `json:"x0,omitempty" protobuf:"varint,20,opt,name=x0" thrift:"20"`
+	X01  int64              `json:"x1,omitempty" protobuf:"varint,21,opt,name=x1" thrift:"21"`
+	X02  int64              `json:"x2,omitempty" protobuf:"varint,22,opt,name=x2" thrift:"22"`
+	X03  int64              `json:"x3,omitempty" protobuf:"varint,23,opt,name=x3" thrift:"23"`
+	X04  int64              `json:"x4,omitempty" protobuf:"varint,24,opt,name=x4" thrift:"24"`
+	X05  int64              `json:"x5,omitempty" protobuf:"varint,25,opt,name=x5" thrift:"25"`
+	X06  int64              `json:"x6,omitempty" protobuf:"varint,26,opt,name=x6" thrift:"26"`
+	X07  int64              `json:"x7,omitempty" protobuf:"varint,27,opt,name=x7" thrift:"27"`
+	X08  int64              `json:"x8,omitempty" protobuf:"varint,28,opt,name=x8" thrift:"28"`
+	X09  int64              `json:"x9,omitempty" protobuf:"varint,29,opt,name=x9" thrift:"29"`
+	X10  int64              `json:"x10,omitempty" protobuf:"varint,30,opt,name=x10" thrift:"30"`
+	X11  int64              `json:"x11,omitempty" protobuf:"varint,31,opt,name=x11" thrift:"31"`
+	X12  int64              `json:"x12,omitempty" protobuf:"varint,32,opt,name=x12" thrift:"32"`
+	X13  int64              `json:"x13,omitempty" protobuf:"varint,33,opt,name=x13" thrift:"33"`
+	X14  int64              `json:"x14,omitempty" protobuf:"varint,34,opt,name=x14" thrift:"34"`
+	X15  int64              `json:"x15,omitempty" protobuf:"varint,35,opt,name=x15" thrift:"35"`
+	X16  int64              `json:"x16,omitempty" protobuf:"varint,36,opt,name=x16" thrift:"36"`
+	X17  int64              `json:"x17,omitempty" protobuf:"varint,37,opt,name=x17" thrift:"37"`
+	X18  int64              `json:"x18,omitempty" protobuf:"varint,38,opt,name=x18" thrift:"38"`
+	X19  int64              `json:"x19,omitempty" protobuf:"varint,39,opt,name=x19" thrift:"39"`
+	X20  int64              `json:"x20,omitempty" protobuf:"varint,40,opt,name=x20" thrift:"40"`
+	X21  int64              `json:"x21,omitempty" protobuf:"varint,41,opt,name=x21" thrift:"41"`
+	X22  int64              `json:"x22,omitempty" protobuf:"varint,42,opt,name=x22" thrift:"42"`
+	X23  int64              `json:"x23,omitempty" protobuf:"varint,43,opt,name=x23" thrift:"43"`
 }
 
 type Peer026 struct {
@@ -383,11 +1058,36 @@ type Peer026 struct {
 }
 
 type Rec027 struct {
-	V    int64    `json:"v" protobuf:"varint,1,opt,name=v" thrift:"1"`
-	Next *Rec027  `json:"next,omitempty" protobuf:"bytes,2,opt,name=next" thrift:"2"`
-	Kids []Rec027 `json:"kids,omitempty" protobuf:"bytes,3,rep,name=kids" thrift:"3"`
-	Peer *Peer027 `json:"peer,omitempty" protobuf:"bytes,4,opt,name=peer" thrift:"4"`
-	S    string   `json:"s,omitempty" protobuf:"bytes,5,opt,name=s" thrift:"5"`
+	M    map[string]Peer027 `json:"m,omitempty" protobuf:"bytes,6,rep,name=m" protobuf_key:"bytes,1,opt,name=key" protobuf_val:"bytes,2,opt,name=value" thrift:"6"`
+	V    int64              `json:"v" protobuf:"varint,1,opt,name=v" thrift:"1"`
+	Next *Rec027            `json:"next,omitempty" protobuf:"bytes,2,opt,name=next" thrift:"2"`
+	Kids []Rec027           `json:"kids,omitempty" protobuf:"bytes,3,rep,name=kids" thrift:"3"`
+	Peer *Peer027           `json:"peer,omitempty" protobuf:"bytes,4,opt,name=peer" thrift:"4"`
+	S    string             `json:"s,omitempty" protobuf:"bytes,5,opt,name=s" thrift:"5"`
+	X00  int64              `json:"x0,omitempty" protobuf:"varint,20,opt,name=x0" thrift:"20"`
+	X01  int64              `json:"x1,omitempty" protobuf:"varint,21,opt,name=x1" thrift:"21"`
+	X02  int64              `json:"x2,omitempty" protobuf:"varint,22,opt,name=x2" thrift:"22"`
+	X03  int64              `json:"x3,omitempty" protobuf:"varint,23,opt,name=x3" thrift:"23"`
+	X04  int64              `json:"x4,omitempty" protobuf:"varint,24,opt,name=x4" thrift:"24"`
+	X05  int64              `json:"x5,omitempty" protobuf:"varint,25,opt,name=x5" thrift:"25"`
+	X06  int64              `json:"x6,omitempty" protobuf:"varint,26,opt,name=x6" thrift:"26"`
+	X07  int64              `json:"x7,omitempty" protobuf:"varint,27,opt,name=x7" thrift:"27"`
+	X08  int64              `json:"x8,omitempty" protobuf:"varint,28,opt,name=x8" thrift:"28"`
+	X09  int64              `json:"x9,omitempty" protobuf:"varint,29,opt,name=x9" thrift:"29"`
+	X10  int64              `json:"x10,omitempty" protobuf:"varint,30,opt,name=x10" thrift:"30"`
+	X11  int64              `json:"x11,omitempty" protobuf:"varint,31,opt,name=x11" thrift:"31"`
+	X12  int64              `json:"x12,omitempty" protobuf:"varint,32,opt,name=x12" thrift:"32"`
+	X13  int64              `json:"x13,omitempty" protobuf:"varint,33,opt,name=x13" thrift:"33"`
+	X14  int64              `json:"x14,omitempty" protobuf:"varint,34,opt,name=x14" thrift:"34"`
+	X15  int64              `json:"x15,omitempty" protobuf:"varint,35,opt,name=x15" thrift:"35"`
+	X16  int64              `json:"x16,omitempty" protobuf:"varint,36,opt,name=x16" thrift:"36"`
+	X17  int64              `json:"x17,omitempty" protobuf:"varint,37,opt,name=x17" thrift:"37"`
+	X18  int64              `json:"x18,omitempty" protobuf:"varint,38,opt,name=x18" thrift:"38"`
+	X19  int64              `json:"x19,omitempty" protobuf:"varint,39,opt,name=x19" thrift:"39"`
+	X20  int64              `json:"x20,omitempty" protobuf:"varint,40,opt,name=x20" thrift:"40"`
+	X21  int64              `json:"x21,omitempty" protobuf:"varint,41,opt,name=x21" thrift:"41"`
+	X22  int64              `json:"x22,omitempty" protobuf:"varint,42,opt,name=x22" thrift:"42"`
+	X23  int64              `json:"x23,omitempty" protobuf:"varint,43,opt,name=x23" thrift:"43"`
 }
 
 type Peer027 struct {
@@ -397,11 +1097,36 @@ type Peer027 struct {
 }
 
 type Rec028 struct {
-	V    int64    `json:"v" protobuf:"varint,1,opt,name=v" thrift:"1"`
-	Next *Rec028  `json:"next,omitempty" protobuf:"bytes,2,opt,name=next" thrift:"2"`
-	Kids []Rec028 `json:"kids,omitempty" protobuf:"bytes,3,rep,name=kids" thrift:"3"`
-	Peer *Peer028 `json:"peer,omitempty" protobuf:"bytes,4,opt,name=peer" thrift:"4"`
-	S    string   `json:"s,omitempty" protobuf:"bytes,5,opt,name=s" thrift:"5"`
+	M    map[string]Peer028 `json:"m,omitempty" protobuf:"bytes,6,rep,name=m" protobuf_key:"bytes,1,opt,name=key" protobuf_val:"bytes,2,opt,name=value" thrift:"6"`
+	V    int64              `json:"v" protobuf:"varint,1,opt,name=v" thrift:"1"`
+	Next *Rec028            `json:"next,omitempty" protobuf:"bytes,2,opt,name=next" thrift:"2"`
+	Kids []Rec028           `json:"kids,omitempty" protobuf:"bytes,3,rep,name=kids" thrift:"3"`
+	Peer *Peer028           `json:"peer,omitempty" protobuf:"bytes,4,opt,name=peer" thrift:"4"`
+	S    string             `json:"s,omitempty" protobuf:"bytes,5,opt,name=s" thrift:"5"`
+	X00  int64              `json:"x0,omitempty" protobuf:"varint,20,opt,name=x0" thrift:"20"`
+	X01  int64              `json:"x1,omitempty" protobuf:"varint,21,opt,name=x1" thrift:"21"`
+	X02  int64              `json:"x2,omitempty" protobuf:"varint,22,opt,name=x2" thrift:"22"`
+	X03  int64              `json:"x3,omitempty" protobuf:"varint,23,opt,name=x3" thrift:"23"`
+	X04  int64              `json:"x4,omitempty" protobuf:"varint,24,opt,name=x4" thrift:"24"`
+	X05  int64              `json:"x5,omitempty" protobuf:"varint,25,opt,name=x5" thrift:"25"`
+	X06  int64              `json:"x6,omitempty" protobuf:"varint,26,opt,name=x6" thrift:"26"`
+	X07  int64              `json:"x7,omitempty" protobuf:"varint,27,opt,name=x7" thrift:"27"`
+	X08  int64              `json:"x8,omitempty" protobuf:"varint,28,opt,name=x8" thrift:"28"`
+	X09  int64              `json:"x9,omitempty" protobuf:"varint,29,opt,name=x9" thrift:"29"`
+	X10  int64              `json:"x10,omitempty" protobuf:"varint,30,opt,name=x10" thrift:"30"`
+	X11  int64              `json:"x11,omitempty" protobuf:"varint,31,opt,name=x11" thrift:"31"`
+	X12  int64              `json:"x12,omitempty" protobuf:"varint,32,opt,name=x12" thrift:"32"`
+	X13  int64              `json:"x13,omitempty" protobuf:"varint,33,opt,name=x13" thrift:"33"`
+	X14  int64              `json:"x14,omitempty" protobuf:"varint,34,opt,name=x14" thrift:"34"`
+	X15  int64              `json:"x15,omitempty" protobuf:"varint,35,opt,name=x15" thrift:"35"`
+	X16  int64              `json:"x16,omitempty" protobuf:"varint,36,opt,name=x16" thrift:"36"`
+	X17  int64              `json:"x17,omitempty" protobuf:"varint,37,opt,name=x17" thrift:"37"`
+	X18  int64              `json:"x18,omitempty" protobuf:"varint,38,opt,name=x18" thrift:"38"`
+	X19  int64              `json:"x19,omitempty" protobuf:"varint,39,opt,name=x19" thrift:"39"`
+	X20  int64              `json:"x20,omitempty" protobuf:"varint,40,opt,name=x20" thrift:"40"`
+	X21  int64              `json:"x21,omitempty" protobuf:"varint,41,opt,name=x21" thrift:"41"`
+	X22  int64              `json:"x22,omitempty" protobuf:"varint,42,opt,name=x22" thrift:"42"`
+	X23  int64              `json:"x23,omitempty" protobuf:"varint,43,opt,name=x23" thrift:"43"`
 }
 
 type Peer028 struct {
@@ -411,11 +1136,36 @@ type Peer028 struct {
 }
 
 type Rec029 struct {
-	V    int64    `json:"v" protobuf:"varint,1,opt,name=v" thrift:"1"`
-	Next *Rec029  `json:"next,omitempty" protobuf:"bytes,2,opt,name=next" thrift:"2"`
-	Kids []Rec029 `json:"kids,omitempty" protobuf:"bytes,3,rep,name=kids" thrift:"3"`
-	Peer *Peer029 `json:"peer,omitempty" protobuf:"bytes,4,opt,name=peer" thrift:"4"`
-	S    string   `json:"s,omitempty" protobuf:"bytes,5,opt,name=s" thrift:"5"`
+	M    map[string]Peer029 `json:"m,omitempty" protobuf:"bytes,6,rep,name=m" protobuf_key:"bytes,1,opt,name=key" protobuf_val:"bytes,2,opt,name=value" thrift:"6"`
+	V    int64              `json:"v" protobuf:"varint,1,opt,name=v" thrift:"1"`
+	Next *Rec029            `json:"next,omitempty" protobuf:"bytes,2,opt,name=next" thrift:"2"`
+	Kids []Rec029           `json:"kids,omitempty" protobuf:"bytes,3,rep,name=kids" thrift:"3"`
+	Peer *Peer029           `json:"peer,omitempty" protobuf:"bytes,4,opt,name=peer" thrift:"4"`
+	S    string             `json:"s,omitempty" protobuf:"bytes,5,opt,name=s" thrift:"5"`
+	X00  int64              `json:"x0,omitempty" protobuf:"varint,20,opt,name=x0" thrift:"20"`
+	X01  int64              `json:"x1,omitempty" protobuf:"varint,21,opt,name=x1" thrift:"21"`
+	X02  int64              `json:"x2,omitempty" protobuf:"varint,22,opt,name=x2" thrift:"22"`
+	X03  int64              `json:"x3,omitempty" protobuf:"varint,23,opt,name=x3" thrift:"23"`
+	X04  int64              `json:"x4,omitempty" protobuf:"varint,24,opt,name=x4" thrift:"24"`
+	X05  int64              `json:"x5,omitempty" protobuf:"varint,25,opt,name=x5" thrift:"25"`
+	X06  int64              `json:"x6,omitempty" protobuf:"varint,26,opt,name=x6" thrift:"26"`
+	X07  int64              `json:"x7,omitempty" protobuf:"varint,27,opt,name=x7" thrift:"27"`
+	X08  int64              `json:"x8,omitempty" protobuf:"varint,28,opt,name=x8" thrift:"28"`
+	X09  int64              `json:"x9,omitempty" protobuf:"varint,29,opt,name=x9" thrift:"29"`
+	X10  int64              `json:"x10,omitempty" protobuf:"varint,30,opt,name=x10" thrift:"30"`
+	X11  int64              `json:"x11,omitempty" protobuf:"varint,31,opt,name=x11" thrift:"31"`
+	X12  int64              `json:"x12,omitempty" protobuf:"varint,32,opt,name=x12" thrift:"32"`
+	X13  int64              `json:"x13,omitempty" protobuf:"varint,33,opt,name=x13" thrift:"33"`
+	X14  int64              `json:"x14,omitempty" protobuf:"varint,34,opt,name=x14" thrift:"34"`
+	X15  int64              `json:"x15,omitempty" protobuf:"varint,35,opt,name=x15" thrift:"35"`
+	X16  int64              `json:"x16,omitempty" protobuf:"varint,36,opt,name=x16" thrift:"36"`
+	X17  int64              `json:"x17,omitempty" protobuf:"varint,37,opt,name=x17" thrift:"37"`
+	X18  int64              `json:"x18,omitempty" protobuf:"varint,38,opt,name=x18" thrift:"38"`
+	X19  int64              `json:"x19,omitempty" protobuf:"varint,39,opt,name=x19" thrift:"39"`
+	X20  int64              `json:"x20,omitempty" protobuf:"varint,40,opt,name=x20" thrift:"40"`
+	X21  int64              `json:"x21,omitempty" protobuf:"varint,41,opt,name=x21" thrift:"41"`
+	X22  int64              `json:"x22,omitempty" protobuf:"varint,42,opt,name=x22" thrift:"42"`
+	X23  int64              `json:"x23,omitempty" protobuf:"varint,43,opt,name=x23" thrift:"43"`
 }
 
 type Peer029 struct {
@@ -425,11 +1175,36 @@ type Peer029 struct {
 }
 
 type Rec030 struct {
-	V    int64    `json:"v" protobuf:"varint,1,opt,name=v" thrift:"1"`
-	Next *Rec030  `json:"next,omitempty" protobuf:"bytes,2,opt,name=next" thrift:"2"`
-	Kids []Rec030 `json:"kids,omitempty" protobuf:"bytes,3,rep,name=kids" thrift:"3"`
-	Peer *Peer030 `json:"peer,omitempty" protobuf:"bytes,4,opt,name=peer" thrift:"4"`
-	S    string   `json:"s,omitempty" protobuf:"bytes,5,opt,name=s" thrift:"5"`
+	M    map[string]Peer030 `json:"m,omitempty" protobuf:"bytes,6,rep,name=m" protobuf_key:"bytes,1,opt,name=key" protobuf_val:"bytes,2,opt,name=value" thrift:"6"`
+	V    int64              `json:"v" protobuf:"varint,1,opt,name=v" thrift:"1"`
+	Next *Rec030            `json:"next,omitempty" protobuf:"bytes,2,opt,name=next" thrift:"2"`
+	Kids []Rec030           `json:"kids,omitempty" protobuf:"bytes,3,rep,name=kids" thrift:"3"`
+	Peer *Peer030           `json:"peer,omitempty" protobuf:"bytes,4,opt,name=peer" thrift:"4"`
+	S    string             `json:"s,omitempty" protobuf:"bytes,5,opt,name=s" thrift:"5"`
+	X00  int64              `json:"x0,omitempty" protobuf:"varint,20,opt,name=x0" thrift:"20"`
+	X01  int64              `json:"x1,omitempty" protobuf:"varint,21,opt,name=x1" thrift:"21"`
+	X02  int64              `json:"x2,omitempty" protobuf:"varint,22,opt,name=x2" thrift:"22"`
+	X03  int64              `json:"x3,omitempty" protobuf:"varint,23,opt,name=x3" thrift:"23"`
+	X04  int64              `json:"x4,omitempty" protobuf:"varint,24,opt,name=x4" thrift:"24"`
+	X05  int64              `json:"x5,omitempty" protobuf:"varint,25,opt,name=x5" thrift:"25"`
+	X06  int64              `json:"x6,omitempty" protobuf:"varint,26,opt,name=x6" thrift:"26"`
+	X07  int64              `json:"x7,omitempty" protobuf:"varint,27,opt,name=x7" thrift:"27"`
+	X08  int64              `json:"x8,omitempty" protobuf:"varint,28,opt,name=x8" thrift:"28"`
+	X09  int64              `json:"x9,omitempty" protobuf:"varint,29,opt,name=x9" thrift:"29"`
+	X10  int64              `json:"x10,omitempty" protobuf:"varint,30,opt,name=x10" thrift:"30"`
+	X11  int64              `json:"x11,omitempty" protobuf:"varint,31,opt,name=x11" thrift:"31"`
+	X12  int64              `json:"x12,omitempty" protobuf:"varint,32,opt,name=x12" thrift:"32"`
+	X13  int64              `json:"x13,omitempty" protobuf:"varint,33,opt,name=x13" thrift:"33"`
+	X14  int64              `json:"x14,omitempty" protobuf:"varint,34,opt,name=x14" thrift:"34"`
+	X15  int64              `json:"x15,omitempty" protobuf:"varint,35,opt,name=x15" thrift:"35"`
+	X16  int64              `json:"x16,omitempty" protobuf:"varint,36,opt,name=x16" thrift:"36"`
+	X17  int64              `json:"x17,omitempty" protobuf:"varint,37,opt,name=x17" thrift:"37"`
+	X18  int64              `json:"x18,omitempty" protobuf:"varint,38,opt,name=x18" thrift:"38"`
+	X19  int64              `json:"x19,omitempty" protobuf:"varint,39,opt,name=x19" thrift:"39"`
+	X20  int64              `json:"x20,omitempty" protobuf:"varint,40,opt,name=x20" thrift:"40"`
+	X21  int64              `json:"x21,omitempty" protobuf:"varint,41,opt,name=x21" thrift:"41"`
+	X22  int64              `json:"x22,omitempty" protobuf:"varint,42,opt,name=x22" thrift:"42"`
+	X23  int64              `json:"x23,omitempty" protobuf:"varint,43,opt,name=x23" thrift:"43"`
 }
 
 type Peer030 struct {
@@ -439,11 +1214,36 @@ type Peer030 struct {
 }
 
 type Rec031 struct {
-	V    int64    `json:"v" protobuf:"varint,1,opt,name=v" thrift:"1"`
-	Next *Rec031  `json:"next,omitempty" protobuf:"bytes,2,opt,name=next" thrift:"2"`
-	Kids []Rec031 `json:"kids,omitempty" protobuf:"bytes,3,rep,name=kids" thrift:"3"`
-	Peer *Peer031 `json:"peer,omitempty" protobuf:"bytes,4,opt,name=peer" thrift:"4"`
-	S    string   `json:"s,omitempty" protobuf:"bytes,5,opt,name=s" thrift:"5"`
+	M    map[string]Peer031 `json:"m,omitempty" protobuf:"bytes,6,rep,name=m" protobuf_key:"bytes,1,opt,name=key" protobuf_val:"bytes,2,opt,name=value" thrift:"6"`
+	V    int64              `json:"v" protobuf:"varint,1,opt,name=v" thrift:"1"`
+	Next *Rec031            `json:"next,omitempty" protobuf:"bytes,2,opt,name=next" thrift:"2"`
+	Kids []Rec031           `json:"kids,omitempty" protobuf:"bytes,3,rep,name=kids" thrift:"3"`
+	Peer *Peer031           `json:"peer,omitempty" protobuf:"bytes,4,opt,name=peer" thrift:"4"`
+	S    string             `json:"s,omitempty" protobuf:"bytes,5,opt,name=s" thrift:"5"`
+	X00  int64              `json:"x0,omitempty" protobuf:"varint,20,opt,name=x0" thrift:"20"`
+	X01  int64              `json:"x1,omitempty" protobuf:"varint,21,opt,name=x1" thrift:"21"`
+	X02  int64              `json:"x2,omitempty" protobuf:"varint,22,opt,name=x2" thrift:"22"`
+	X03  int64              `json:"x3,omitempty" protobuf:"varint,23,opt,name=x3" thrift:"23"`
+	X04  int64              `json:"x4,omitempty" protobuf:"varint,24,opt,name=x4" thrift:"24"`
+	X05  int64              `json:"x5,omitempty" protobuf:"varint,25,opt,name=x5" thrift:"25"`
+	X06  int64              `json:"x6,omitempty" protobuf:"varint,26,opt,name=x6" thrift:"26"`
+	X07  int64              `json:"x7,omitempty" protobuf:"varint,27,opt,name=x7" thrift:"27"`
+	X08  int64              `json:"x8,omitempty" protobuf:"varint,28,opt,name=x8" thrift:"28"`
+	X09  int64              `json:"x9,omitempty" protobuf:"varint,29,opt,name=x9" thrift:"29"`
+	X10  int64              `json:"x10,omitempty" protobuf:"varint,30,opt,name=x10" thrift:"30"`
+	X11  int64              `json:"x11,omitempty" protobuf:"varint,31,opt,name=x11" thrift:"31"`
+	X12  int64              `json:"x12,omitempty" protobuf:"varint,32,opt,name=x12" thrift:"32"`
+	X13  int64              `json:"x13,omitempty" protobuf:"varint,33,opt,name=x13" thrift:"33"`
+	X14  int64              `json:"x14,omitempty" protobuf:"varint,34,opt,name=x14" thrift:"34"`
+	X15  int64              `json:"x15,omitempty" protobuf:"varint,35,opt,name=x15" thrift:"35"`
+	X16  int64              `json:"x16,omitempty" protobuf:"varint,36,opt,name=x16" thrift:"36"`
+	X17  int64              `json:"x17,omitempty" protobuf:"varint,37,opt,name=x17" thrift:"37"`
+	X18  int64              `json:"x18,omitempty" protobuf:"varint,38,opt,name=x18" thrift:"38"`
+	X19  int64              `json:"x19,omitempty" protobuf:"varint,39,opt,name=x19" thrift:"39"`
+	X20  int64              `json:"x20,omitempty" protobuf:"varint,40,opt,name=x20" thrift:"40"`
+	X21  int64              `json:"x21,omitempty" protobuf:"varint,41,opt,name=x21" thrift:"41"`
+	X22  int64              `json:"x22,omitempty" protobuf:"varint,42,opt,name=x22" thrift:"42"`
+	X23  int64              `json:"x23,omitempty" protobuf:"varint,43,opt,name=x23" thrift:"43"`
 }
 
 type Peer031 struct {
@@ -453,11 +1253,36 @@ type Peer031 struct {
 }
 
 type Rec032 struct {
-	V    int64    `json:"v" protobuf:"varint,1,opt,name=v" thrift:"1"`
-	Next *Rec032  `json:"next,omitempty" protobuf:"bytes,2,opt,name=next" thrift:"2"`
-	Kids []Rec032 `json:"kids,omitempty" protobuf:"bytes,3,rep,name=kids" thrift:"3"`
-	Peer *Peer032 `json:"peer,omitempty" protobuf:"bytes,4,opt,name=peer" thrift:"4"`
-	S    string   `json:"s,omitempty" protobuf:"bytes,5,opt,name=s" thrift:"5"`
+	M    map[string]Peer032 `json:"m,omitempty" protobuf:"bytes,6,rep,name=m" protobuf_key:"bytes,1,opt,name=key" protobuf_val:"bytes,2,opt,name=value" thrift:"6"`
+	V    int64              `json:"v" protobuf:"varint,1,opt,name=v" thrift:"1"`
+	Next *Rec032            `json:"next,omitempty" protobuf:"bytes,2,opt,name=next" thrift:"2"`
+	Kids []Rec032           `json:"kids,omitempty" protobuf:"bytes,3,rep,name=kids" thrift:"3"`
+	Peer *Peer032           `json:"peer,omitempty" protobuf:"bytes,4,opt,name=peer" thrift:"4"`
+	S    string             `json:"s,omitempty" protobuf:"bytes,5,opt,name=s" thrift:"5"`
+	X00  int64              `json:"x0,omitempty" protobuf:"varint,20,opt,name=x0" thrift:"20"`
+	X01  int64              `json:"x1,omitempty" protobuf:"varint,21,opt,name=x1" thrift:"21"`
+	X02  int64              `json:"x2,omitempty" protobuf:"varint,22,opt,name=x2" thrift:"22"`
+	X03  int64              `json:"x3,omitempty" protobuf:"varint,23,opt,name=x3" thrift:"23"`
+	X04  int64              `json:"x4,omitempty" protobuf:"varint,24,opt,name=x4" thrift:"24"`
+	X05  int64              `json:"x5,omitempty" protobuf:"varint,25,opt,name=x5" thrift:"25"`
+	X06  int64              `json:"x6,omitempty" protobuf:"varint,26,opt,name=x6" thrift:"26"`
+	X07  int64              `json:"x7,omitempty" protobuf:"varint,27,opt,name=x7" thrift:"27"`
+	X08  int64              `json:"x8,omitempty" protobuf:"varint,28,opt,name=x8" thrift:"28"`
+	X09  int64              `json:"x9,omitempty" protobuf:"varint,29,opt,name=x9" thrift:"29"`
+	X10  int64              `json:"x10,omitempty" protobuf:"varint,30,opt,name=x10" thrift:"30"`
+	X11  int64              `json:"x11,omitempty" protobuf:"varint,31,opt,name=x11" thrift:"31"`
+	X12  int64              `json:"x12,omitempty" protobuf:"varint,32,opt,name=x12" thrift:"32"`
+	X13  int64              `json:"x13,omitempty" protobuf:"varint,33,opt,name=x13" thrift:"33"`
+	X14  int64              `json:"x14,omitempty" protobuf:"varint,34,opt,name=x14" thrift:"34"`
+	X15  int64              `json:"x15,omitempty" protobuf:"varint,35,opt,name=x15" thrift:"35"`
+	X16  int64              `json:"x16,omitempty" protobuf:"varint,36,opt,name=x16" thrift:"36"`
+	X17  int64              `json:"x17,omitempty" protobuf:"varint,37,opt,name=x17" thrift:"37"`
+	X18  int64              `json:"x18,omitempty" protobuf:"varint,38,opt,name=x18" thrift:"38"`
+	X19  int64              `json:"x19,omitempty" protobuf:"varint,39,opt,name=x19" thrift:"39"`
+	X20  int64              `json:"x20,omitempty" protobuf:"varint,40,opt,name=x20" thrift:"40"`
+	X21  int64              `json:"x21,omitempty" protobuf:"varint,41,opt,name=x21" thrift:"41"`
+	X22  int64              `json:"x22,omitempty" protobuf:"varint,42,opt,name=x22" thrift:"42"`
+	X23  int64              `json:"x23,omitempty" protobuf:"varint,43,opt,name=x23" thrift:"43"`
 }
 
 type Peer032 struct {
@@ -467,11 +1292,36 @@ type Peer032 struct {
 }
 
 type Rec033 struct {
-	V    int64    `json:"v" protobuf:"varint,1,opt,name=v" thrift:"1"`
-	Next *Rec033  `json:"next,omitempty" protobuf:"bytes,2,opt,name=next" thrift:"2"`
-	Kids []Rec033 `json:"kids,omitempty" protobuf:"bytes,3,rep,name=kids" thrift:"3"`
-	Peer *Peer033 `json:"peer,omitempty" protobuf:"bytes,4,opt,name=peer" thrift:"4"`
-	S    string   `json:"s,omitempty" protobuf:"bytes,5,opt,name=s" thrift:"5"`
+	M    map[string]Peer033 `json:"m,omitempty" protobuf:"bytes,6,rep,name=m" protobuf_key:"bytes,1,opt,name=key" protobuf_val:"bytes,2,opt,name=value" thrift:"6"`
+	V    int64              `json:"v" protobuf:"varint,1,opt,name=v" thrift:"1"`
+	Next *Rec033            `json:"next,omitempty" protobuf:"bytes,2,opt,name=next" thrift:"2"`
+	Kids []Rec033           `json:"kids,omitempty" protobuf:"bytes,3,rep,name=kids" thrift:"3"`
+	Peer *Peer033           `json:"peer,omitempty" protobuf:"bytes,4,opt,name=peer" thrift:"4"`
+	S    string             `json:"s,omitempty" protobuf:"bytes,5,opt,name=s" thrift:"5"`
+	X00  int64              `json:"x0,omitempty" protobuf:"varint,20,opt,name=x0" thrift:"20"`
+	X01  int64              `json:"x1,omitempty" protobuf:"varint,21,opt,name=x1" thrift:"21"`
+	X02  int64              `json:"x2,omitempty" protobuf:"varint,22,opt,name=x2" thrift:"22"`
+	X03  int64              `json:"x3,omitempty" protobuf:"varint,23,opt,name=x3" thrift:"23"`
+	X04  int64              `json:"x4,omitempty" protobuf:"varint,24,opt,name=x4" thrift:"24"`
+	X05  int64              `json:"x5,omitempty" protobuf:"varint,25,opt,name=x5" thrift:"25"`
+	X06  int64              `json:"x6,omitempty" protobuf:"varint,26,opt,name=x6" thrift:"26"`
+	X07  int64              `json:"x7,omitempty" protobuf:"varint,27,opt,name=x7" thrift:"27"`
+	X08  int64              `json:"x8,omitempty" protobuf:"varint,28,opt,name=x8" thrift:"28"`
+	X09  int64              `json:"x9,omitempty" protobuf:"varint,29,opt,name=x9" thrift:"29"`
+	X10  int64              `json:"x10,omitempty" protobuf:"varint,30,opt,name=x10" thrift:"30"`
+	X11  int64              `json:"x11,omitempty" protobuf:"varint,31,opt,name=x11" thrift:"31"`
+	X12  int64              `json:"x12,omitempty" protobuf:"varint,32,opt,name=x12" thrift:"32"`
+	X13  int64              `json:"x13,omitempty" protobuf:"varint,33,opt,name=x13" thrift:"33"`
+	X14  int64              `json:"x14,omitempty" protobuf:"varint,34,opt,name=x14" thrift:"34"`
+	X15  int64              `json:"x15,omitempty" protobuf:"varint,35,opt,name=x15" thrift:"35"`
+	X16  int64              `json:"x16,omitempty" protobuf:"varint,36,opt,name=x16" thrift:"36"`
+	X17  int64              `json:"x17,omitempty" protobuf:"varint,37,opt,name=x17" thrift:"37"`
+	X18  int64              `json:"x18,omitempty" protobuf:"varint,38,opt,name=x18" thrift:"38"`
+	X19  int64              `json:"x19,omitempty" protobuf:"varint,39,opt,name=x19" thrift:"39"`
+	X20  int64              `json:"x20,omitempty" protobuf:"varint,40,opt,name=x20" thrift:"40"`
+	X21  int64              `json:"x21,omitempty" protobuf:"varint,41,opt,name=x21" thrift:"41"`
+	X22  int64              `json:"x22,omitempty" protobuf:"varint,42,opt,name=x22" thrift:"42"`
+	X23  int64              `json:"x23,omitempty" protobuf:"varint,43,opt,name=x23" thrift:"43"`
 }
 
 type Peer033 struct {
@@ -481,11 +1331,36 @@ type Peer033 struct {
 }
 
 type Rec034 struct {
-	V    int64    `json:"v" protobuf:"varint,1,opt,name=v" thrift:"1"`
-	Next *Rec034  `json:"next,omitempty" protobuf:"bytes,2,opt,name=next" thrift:"2"`
-	Kids []Rec034 `json:"kids,omitempty" protobuf:"bytes,3,rep,name=kids" thrift:"3"`
-	Peer *Peer034 `json:"peer,omitempty" protobuf:"bytes,4,opt,name=peer" thrift:"4"`
-	S    string   `json:"s,omitempty" protobuf:"bytes,5,opt,name=s" thrift:"5"`
+	M    map[string]Peer034 `json:"m,omitempty" protobuf:"bytes,6,rep,name=m" protobuf_key:"bytes,1,opt,name=key" protobuf_val:"bytes,2,opt,name=value" thrift:"6"`
+	V    int64              `json:"v" protobuf:"varint,1,opt,name=v" thrift:"1"`
+	Next *Rec034            `json:"next,omitempty" protobuf:"bytes,2,opt,name=next" thrift:"2"`
+	Kids []Rec034           `json:"kids,omitempty" protobuf:"bytes,3,rep,name=kids" thrift:"3"`
+	Peer *Peer034           `json:"peer,omitempty" protobuf:"bytes,4,opt,name=peer" thrift:"4"`
+	S    string             `json:"s,omitempty" protobuf:"bytes,5,opt,name=s" thrift:"5"`
+	X00  int64              `json:"x0,omitempty" protobuf:"varint,20,opt,name=x0" thrift:"20"`
+	X01  int64              `json:"x1,omitempty" protobuf:"varint,21,opt,name=x1" thrift:"21"`
+	X02  int64              `json:"x2,omitempty" protobuf:"varint,22,opt,name=x2" thrift:"22"`
+	X03  int64              `json:"x3,omitempty" protobuf:"varint,23,opt,name=x3" thrift:"23"`
+	X04  int64              `json:"x4,omitempty" protobuf:"varint,24,opt,name=x4" thrift:"24"`
+	X05  int64              `json:"x5,omitempty" protobuf:"varint,25,opt,name=x5" thrift:"25"`
+	X06  int64              `json:"x6,omitempty" protobuf:"varint,26,opt,name=x6" thrift:"26"`
+	X07  int64              `json:"x7,omitempty" protobuf:"varint,27,opt,name=x7" thrift:"27"`
+	X08  int64              `json:"x8,omitempty" protobuf:"varint,28,opt,name=x8" thrift:"28"`
+	X09  int64              `json:"x9,omitempty" protobuf:"varint,29,opt,name=x9" thrift:"29"`
+	X10  int64              `json:"x10,omitempty" protobuf:"varint,30,opt,name=x10" thrift:"30"`
+	X11  int64              `json:"x11,omitempty" protobuf:"varint,31,opt,name=x11" thrift:"31"`
+	X12  int64              `json:"x12,omitempty" protobuf:"varint,32,opt,name=x12" thrift:"32"`
+	X13  int64              `json:"x13,omitempty" protobuf:"varint,33,opt,name=x13" thrift:"33"`
+	X14  int64              `json:"x14,omitempty" protobuf:"varint,34,opt,name=x14" thrift:"34"`
+	X15  int64              `json:"x15,omitempty" protobuf:"varint,35,opt,name=x15" thrift:"35"`
+	X16  int64              `json:"x16,omitempty" protobuf:"varint,36,opt,name=x16" thrift:"36"`
+	X17  int64              `json:"x17,omitempty" protobuf:"varint,37,opt,name=x17" thrift:"37"`
+	X18  int64              `json:"x18,omitempty" protobuf:"varint,38,opt,name=x18" thrift:"38"`
+	X19  int64              `json:"x19,omitempty" protobuf:"varint,39,opt,name=x19" thrift:"39"`
+	X20  int64              `json:"x20,omitempty" protobuf:"varint,40,opt,name=x20" thrift:"40"`
+	X21  int64              `json:"x21,omitempty" protobuf:"varint,41,opt,name=x21" thrift:"41"`
+	X22  int64              `json:"x22,omitempty" protobuf:"varint,42,opt,name=x22" thrift:"42"`
+	X23  int64              `json:"x23,omitempty" protobuf:"varint,43,opt,name=x23" thrift:"43"`
 }
 
 type Peer034 struct {
@@ -495,11 +1370,36 @@ type Peer034 struct {
 }
 
 type Rec035 struct {
-	V    int64    `json:"v" protobuf:"varint,1,opt,name=v" thrift:"1"`
-	Next *Rec035  `json:"next,omitempty" protobuf:"bytes,2,opt,name=next" thrift:"2"`
-	Kids []Rec035 `json:"kids,omitempty" protobuf:"bytes,3,rep,name=kids" thrift:"3"`
-	Peer *Peer035 `json:"peer,omitempty" protobuf:"bytes,4,opt,name=peer" thrift:"4"`
-	S    string   `json:"s,omitempty" protobuf:"bytes,5,opt,name=s" thrift:"5"`
+	M    map[string]Peer035 `json:"m,omitempty" protobuf:"bytes,6,rep,name=m" protobuf_key:"bytes,1,opt,name=key" protobuf_val:"bytes,2,opt,name=value" thrift:"6"`
+	V    int64              `json:"v" protobuf:"varint,1,opt,name=v" thrift:"1"`
+	Next *Rec035            `json:"next,omitempty" protobuf:"bytes,2,opt,name=next" thrift:"2"`
+	Kids []Rec035           `json:"kids,omitempty" protobuf:"bytes,3,rep,name=kids" thrift:"3"`
+	Peer *Peer035           `json:"peer,omitempty" protobuf:"bytes,4,opt,name=peer" thrift:"4"`
+	S    string             `json:"s,omitempty" protobuf:"bytes,5,opt,name=s" thrift:"5"`
+	X00  int64              `json:"x0,omitempty" protobuf:"varint,20,opt,name=x0" thrift:"20"`
+	X01  int64              `json:"x1,omitempty" protobuf:"varint,21,opt,name=x1" thrift:"21"`
+	X02  int64              `json:"x2,omitempty" protobuf:"varint,22,opt,name=x2" thrift:"22"`
+	X03  int64              `json:"x3,omitempty" protobuf:"varint,23,opt,name=x3" thrift:"23"`
+	X04  int64              `json:"x4,omitempty" protobuf:"varint,24,opt,name=x4" thrift:"24"`
+	X05  int64              `json:"x5,omitempty" protobuf:"varint,25,opt,name=x5" thrift:"25"`
+	X06  int64              `json:"x6,omitempty" protobuf:"varint,26,opt,name=x6" thrift:"26"`
+	X07  int64              `json:"x7,omitempty" protobuf:"varint,27,opt,name=x7" thrift:"27"`
+	X08  int64              `json:"x8,omitempty" protobuf:"varint,28,opt,name=x8" thrift:"28"`
+	X09  int64              `json:"x9,omitempty" protobuf:"varint,29,opt,name=x9" thrift:"29"`
+	X10  int64              `json:"x10,omitempty" protobuf:"varint,30,opt,name=x10" thrift:"30"`
+	X11  int64              `json:"x11,omitempty" protobuf:"varint,31,opt,name=x11" thrift:"31"`
+	X12  int64              `json:"x12,omitempty" protobuf:"varint,32,opt,name=x12" thrift:"32"`
+	X13  int64              `json:"x13,omitempty" protobuf:"varint,33,opt,name=x13" thrift:"33"`
+	X14  int64              `json:"x14,omitempty" protobuf:"varint,34,opt,name=x14" thrift:"34"`
+	X15  int64              `json:"x15,omitempty" protobuf:"varint,35,opt,name=x15" thrift:"35"`
+	X16  int64              `json:"x16,omitempty" protobuf:"varint,36,opt,name=x16" thrift:"36"`
+	X17  int64              `json:"x17,omitempty" protobuf:"varint,37,opt,name=x17" thrift:"37"`
+	X18  int64              `json:"x18,omitempty" protobuf:"varint,38,opt,name=x18" thrift:"38"`
+	X19  int64              `json:"x19,omitempty" protobuf:"varint,39,opt,name=x19" thrift:"39"`
+	X20  int64              `json:"x20,omitempty" protobuf:"varint,40,opt,name=x20" thrift:"40"`
+	X21  int64              `json:"x21,omitempty" protobuf:"varint,41,opt,name=x21" thrift:"41"`
+	X22  int64              `json:"x22,omitempty" protobuf:"varint,42,opt,name=x22" thrift:"42"`
+	X23  int64              `json:"x23,omitempty" protobuf:"varint,43,opt,name=x23" thrift:"43"`
 }
 
 type Peer035 struct {
@@ -509,11 +1409,36 @@ type Peer035 struct {
 }
 
 type Rec036 struct {
-	V    int64    `json:"v" protobuf:"varint,1,opt,name=v" thrift:"1"`
-	Next *Rec036  `json:"next,omitempty" protobuf:"bytes,2,opt,name=next" thrift:"2"`
-	Kids []Rec036 `json:"kids,omitempty" protobuf:"bytes,3,rep,name=kids" thrift:"3"`
-	Peer *Peer036 `json:"peer,omitempty" protobuf:"bytes,4,opt,name=peer" thrift:"4"`
-	S    string   `json:"s,omitempty" protobuf:"bytes,5,opt,name=s" thrift:"5"`
+	M    map[string]Peer036 `json:"m,omitempty" protobuf:"bytes,6,rep,name=m" protobuf_key:"bytes,1,opt,name=key" protobuf_val:"bytes,2,opt,name=value" thrift:"6"`
+	V    int64              `json:"v" protobuf:"varint,1,opt,name=v" thrift:"1"`
+	Next *Rec036            `json:"next,omitempty" protobuf:"bytes,2,opt,name=next" thrift:"2"`
+	Kids []Rec036           `json:"kids,omitempty" protobuf:"bytes,3,rep,name=kids" thrift:"3"`
+	Peer *Peer036           `json:"peer,omitempty" protobuf:"bytes,4,opt,name=peer" thrift:"4"`
+	S    string             `json:"s,omitempty" protobuf:"bytes,5,opt,name=s" thrift:"5"`
+	X00  int64              `json:"x0,omitempty" protobuf:"varint,20,opt,name=x0" thrift:"20"`
+	X01  int64              `json:"x1,omitempty" protobuf:"varint,21,opt,name=x1" thrift:"21"`
+	X02  int64              `json:"x2,omitempty" protobuf:"varint,22,opt,name=x2" thrift:"22"`
+	X03  int64              `json:"x3,omitempty" protobuf:"varint,23,opt,name=x3" thrift:"23"`
+	X04  int64              `json:"x4,omitempty" protobuf:"varint,24,opt,name=x4" thrift:"24"`
+	X05  int64              `json:"x5,omitempty" protobuf:"varint,25,opt,name=x5" thrift:"25"`
+	X06  int64              `json:"x6,omitempty" protobuf:"varint,26,opt,name=x6" thrift:"26"`
+	X07  int64              `json:"x7,omitempty" protobuf:"varint,27,opt,name=x7" thrift:"27"`
+	X08  int64              `json:"x8,omitempty" protobuf:"varint,28,opt,name=x8" thrift:"28"`
+	X09  int64              `json:"x9,omitempty" protobuf:"varint,29,opt,name=x9" thrift:"29"`
+	X10  int64              `json:"x10,omitempty" protobuf:"varint,30,opt,name=x10" thrift:"30"`
+	X11  int64              `json:"x11,omitempty" protobuf:"varint,31,opt,name=x11" thrift:"31"`
+	X12  int64              `json:"x12,omitempty" protobuf:"varint,32,opt,name=x12" thrift:"32"`
+	X13  int64              `json:"x13,omitempty" protobuf:"varint,33,opt,name=x13" thrift:"33"`
+	X14  int64              `json:"x14,omitempty" protobuf:"varint,34,opt,name=x14" thrift:"34"`
+	X15  int64              `json:"x15,omitempty" protobuf:"varint,35,opt,name=x15" thrift:"35"`
+	X16  int64              `json:"x16,omitempty" protobuf:"varint,36,opt,name=x16" thrift:"36"`
+	X17  int64              `json:"x17,omitempty" protobuf:"varint,37,opt,name=x17" thrift:"37"`
+	X18  int64              `json:"x18,omitempty" protobuf:"varint,38,opt,name=x18" thrift:"38"`
+	X19  int64              `json:"x19,omitempty" protobuf:"varint,39,opt,name=x19" thrift:"39"`
+	X20  int64              `json:"x20,omitempty" protobuf:"varint,40,opt,name=x20" thrift:"40"`
+	X21  int64              `json:"x21,omitempty" protobuf:"varint,41,opt,name=x21" thrift:"41"`
+	X22  int64              `json:"x22,omitempty" protobuf:"varint,42,opt,name=x22" thrift:"42"`
+	X23  int64              `json:"x23,omitempty" protobuf:"varint,43,opt,name=x23" thrift:"43"`
 }
 
 type Peer036 struct {
@@ -523,11 +1448,36 @@ type Peer036 struct {
 }
 
 type Rec037 struct {
-	V    int64    `json:"v" protobuf:"varint,1,opt,name=v" thrift:"1"`
-	Next *Rec037  `json:"next,omitempty" protobuf:"bytes,2,opt,name=next" thrift:"2"`
-	Kids []Rec037 `json:"kids,omitempty" protobuf:"bytes,3,rep,name=kids" thrift:"3"`
-	Peer *Peer037 `json:"peer,omitempty" protobuf:"bytes,4,opt,name=peer" thrift:"4"`
-	S    string   `json:"s,omitempty" protobuf:"bytes,5,opt,name=s" thrift:"5"`
+	M    map[string]Peer037 `json:"m,omitempty" protobuf:"bytes,6,rep,name=m" protobuf_key:"bytes,1,opt,name=key" protobuf_val:"bytes,2,opt,name=value" thrift:"6"`
+	V    int64              `json:"v" protobuf:"varint,1,opt,name=v" thrift:"1"`
+	Next *Rec037            `json:"next,omitempty" protobuf:"bytes,2,opt,name=next" thrift:"2"`
+	Kids []Rec037           `json:"kids,omitempty" protobuf:"bytes,3,rep,name=kids" thrift:"3"`
+	Peer *Peer037           `json:"peer,omitempty" protobuf:"bytes,4,opt,name=peer" thrift:"4"`
+	S    string             `json:"s,omitempty" protobuf:"bytes,5,opt,name=s" thrift:"5"`
+	X00  int64              `json:"x0,omitempty" protobuf:"varint,20,opt,name=x0" thrift:"20"`
+	X01  int64              `json:"x1,omitempty" protobuf:"varint,21,opt,name=x1" thrift:"21"`
+	X02  int64              `json:"x2,omitempty" protobuf:"varint,22,opt,name=x2" thrift:"22"`
+	X03  int64              `json:"x3,omitempty" protobuf:"varint,23,opt,name=x3" thrift:"23"`
+	X04  int64              `json:"x4,omitempty" protobuf:"varint,24,opt,name=x4" thrift:"24"`
+	X05  int64              `json:"x5,omitempty" protobuf:"varint,25,opt,name=x5" thrift:"25"`
+	X06  int64              `json:"x6,omitempty" protobuf:"varint,26,opt,name=x6" thrift:"26"`
+	X07  int64              `json:"x7,omitempty" protobuf:"varint,27,opt,name=x7" thrift:"27"`
+	X08  int64              `json:"x8,omitempty" protobuf:"varint,28,opt,name=x8" thrift:"28"`
+	X09  int64              `json:"x9,omitempty" protobuf:"varint,29,opt,name=x9" thrift:"29"`
+	X10  int64              `json:"x10,omitempty" protobuf:"varint,30,opt,name=x10" thrift:"30"`
+	X11  int64              `json:"x11,omitempty" protobuf:"varint,31,opt,name=x11" thrift:"31"`
+	X12  int64              `json:"x12,omitempty" protobuf:"varint,32,opt,name=x12" thrift:"32"`
+	X13  int64              `json:"x13,omitempty" protobuf:"varint,33,opt,name=x13" thrift:"33"`
+	X14  int64              `json:"x14,omitempty" protobuf:"varint,34,opt,name=x14" thrift:"34"`
+	X15  int64              `json:"x15,omitempty" protobuf:"varint,35,opt,name=x15" thrift:"35"`
+	X16  int64              `json:"x16,omitempty" protobuf:"varint,36,opt,name=x16" thrift:"36"`
+	X17  int64              `json:"x17,omitempty" protobuf:"varint,37,opt,name=x17" thrift:"37"`
+	X18  int64              `json:"x18,omitempty" protobuf:"varint,38,opt,name=x18" thrift:"38"`
+	X19  int64              `json:"x19,omitempty" protobuf:"varint,39,opt,name=x19" thrift:"39"`
+	X20  int64              `json:"x20,omitempty" protobuf:"varint,40,opt,name=x20" thrift:"40"`
+	X21  int64              `json:"x21,omitempty" protobuf:"varint,41,opt,name=x21" thrift:"41"`
+	X22  int64              `json:"x22,omitempty" protobuf:"varint,42,opt,name=x22" thrift:"42"`
+	X23  int64              `json:"x23,omitempty" protobuf:"varint,43,opt,name=x23" thrift:"43"`
 }
 
 type Peer037 struct {
@@ -537,11 +1487,36 @@ type Peer037 struct {
 }
 
 type Rec038 struct {
-	V    int64    `json:"v" protobuf:"varint,1,opt,name=v" thrift:"1"`
-	Next *Rec038  `json:"next,omitempty" protobuf:"bytes,2,opt,name=next" thrift:"2"`
-	Kids []Rec038 `json:"kids,omitempty" protobuf:"bytes,3,rep,name=kids" thrift:"3"`
-	Peer *Peer038 `json:"peer,omitempty" protobuf:"bytes,4,opt,name=peer" thrift:"4"`
-	S    string   `json:"s,omitempty" protobuf:"bytes,5,opt,name=s" thrift:"5"`
+	M    map[string]Peer038 `json:"m,omitempty" protobuf:"bytes,6,rep,name=m" protobuf_key:"bytes,1,opt,name=key" protobuf_val:"bytes,2,opt,name=value" thrift:"6"`
+	V    int64              `json:"v" protobuf:"varint,1,opt,name=v" thrift:"1"`
+	Next *Rec038            `json:"next,omitempty" protobuf:"bytes,2,opt,name=next" thrift:"2"`
+	Kids []Rec038           `json:"kids,omitempty" protobuf:"bytes,3,rep,name=kids" thrift:"3"`
+	Peer *Peer038           `json:"peer,omitempty" protobuf:"bytes,4,opt,name=peer" thrift:"4"`
+	S    string             `json:"s,omitempty" protobuf:"bytes,5,opt,name=s" thrift:"5"`
+	X00  int64              `json:"x0,omitempty" protobuf:"varint,20,opt,name=x0" thrift:"20"`
+	X01  int64              `json:"x1,omitempty" protobuf:"varint,21,opt,name=x1" thrift:"21"`
+	X02  int64              `json:"x2,omitempty" protobuf:"varint,22,opt,name=x2" thrift:"22"`
+	X03  int64              `json:"x3,omitempty" protobuf:"varint,23,opt,name=x3" thrift:"23"`
+	X04  int64              `json:"x4,omitempty" protobuf:"varint,24,opt,name=x4" thrift:"24"`
+	X05  int64              `json:"x5,omitempty" protobuf:"varint,25,opt,name=x5" thrift:"25"`
+	X06  int64              `json:"x6,omitempty" protobuf:"varint,26,opt,name=x6" thrift:"26"`
+	X07  int64              `json:"x7,omitempty" protobuf:"varint,27,opt,name=x7" thrift:"27"`
+	X08  int64              `json:"x8,omitempty" protobuf:"varint,28,opt,name=x8" thrift:"28"`
+	X09  int64              `json:"x9,omitempty" protobuf:"varint,29,opt,name=x9" thrift:"29"`
+	X10  int64              `json:"x10,omitempty" protobuf:"varint,30,opt,name=x10" thrift:"30"`
+	X11  int64              `json:"x11,omitempty" protobuf:"varint,31,opt,name=x11" thrift:"31"`
+	X12  int64              `json:"x12,omitempty" protobuf:"varint,32,opt,name=x12" thrift:"32"`
+	X13  int64              `json:"x13,omitempty" protobuf:"varint,33,opt,name=x13" thrift:"33"`
+	X14  int64              `json:"x14,omitempty" protobuf:"varint,34,opt,name=x14" thrift:"34"`
+	X15  int64              `json:"x15,omitempty" protobuf:"varint,35,opt,name=x15" thrift:"35"`
+	X16  int64              `json:"x16,omitempty" protobuf:"varint,36,opt,name=x16" thrift:"36"`
+	X17  int64              `json:"x17,omitempty" protobuf:"varint,37,opt,name=x17" thrift:"37"`
+	X18  int64              `json:"x18,omitempty" protobuf:"varint,38,opt,name=x18" thrift:"38"`
+	X19  int64              `json:"x19,omitempty" protobuf:"varint,39,opt,name=x19" thrift:"39"`
+	X20  int64              `json:"x20,omitempty" protobuf:"varint,40,opt,name=x20" thrift:"40"`
+	X21  int64              `json:"x21,omitempty" protobuf:"varint,41,opt,name=x21" thrift:"41"`
+	X22  int64              `json:"x22,omitempty" protobuf:"varint,42,opt,name=x22" thrift:"42"`
+	X23  int64              `json:"x23,omitempty" protobuf:"varint,43,opt,name=x23" thrift:"43"`
 }
 
 type Peer038 struct {
@@ -551,11 +1526,36 @@ type Peer038 struct {
 }
 
 type Rec039 struct {
-	V    int64    `json:"v" protobuf:"varint,1,opt,name=v" thrift:"1"`
-	Next *Rec039  `json:"next,omitempty" protobuf:"bytes,2,opt,name=next" thrift:"2"`
-	Kids []Rec039 `json:"kids,omitempty" protobuf:"bytes,3,rep,name=kids" thrift:"3"`
-	Peer *Peer039 `json:"peer,omitempty" protobuf:"bytes,4,opt,name=peer" thrift:"4"`
-	S    string   `json:"s,omitempty" protobuf:"bytes,5,opt,name=s" thrift:"5"`
+	M    map[string]Peer039 `json:"m,omitempty" protobuf:"bytes,6,rep,name=m" protobuf_key:"bytes,1,opt,name=key" protobuf_val:"bytes,2,opt,name=value" thrift:"6"`
+	V    int64              `json:"v" protobuf:"varint,1,opt,name=v" thrift:"1"`
+	Next *Rec039            `json:"next,omitempty" protobuf:"bytes,2,opt,name=next" thrift:"2"`
+	Kids []Rec039           `json:"kids,omitempty" protobuf:"bytes,3,rep,name=kids" thrift:"3"`
+	Peer *Peer039           `json:"peer,omitempty" protobuf:"bytes,4,opt,name=peer" thrift:"4"`
+	S    string             `json:"s,omitempty" protobuf:"bytes,5,opt,name=s" thrift:"5"`
+	X00  int64              `json:"x0,omitempty" protobuf:"varint,20,opt,name=x0" thrift:"20"`
+	X01  int64              `json:"x1,omitempty" protobuf:"varint,21,opt,name=x1" thrift:"21"`
+	X02  int64              `json:"x2,omitempty" protobuf:"varint,22,opt,name=x2" thrift:"22"`
+	X03  int64              `json:"x3,omitempty" protobuf:"varint,23,opt,name=x3" thrift:"23"`
+	X04  int64              `json:"x4,omitempty" protobuf:"varint,24,opt,name=x4" thrift:"24"`
+	X05  int64              `json:"x5,omitempty" protobuf:"varint,25,opt,name=x5" thrift:"25"`
+	X06  int64              `json:"x6,omitempty" protobuf:"varint,26,opt,name=x6" thrift:"26"`
+	X07  int64              `json:"x7,omitempty" protobuf:"varint,27,opt,name=x7" thrift:"27"`
+	X08  int64              `json:"x8,omitempty" protobuf:"varint,28,opt,name=x8" thrift:"28"`
+	X09  int64              `json:"x9,omitempty" protobuf:"varint,29,opt,name=x9" thrift:"29"`
+	X10  int64              `json:"x10,omitempty" protobuf:"varint,30,opt,name=x10" thrift:"30"`
+	X11  int64              `json:"x11,omitempty" protobuf:"varint,31,opt,name=x11" thrift:"31"`
+	X12  int64              `json:"x12,omitempty" protobuf:"varint,32,opt,name=x12" thrift:"32"`
+	X13  int64              `json:"x13,omitempty" protobuf:"varint,33,opt,name=x13" thrift:"33"`
+	X14  int64              `json:"x14,omitempty" protobuf:"varint,34,opt,name=x14" thrift:"34"`
+	X15  int64              `json:"x15,omitempty" protobuf:"varint,35,opt,name=x15" thrift:"35"`
+	X16  int64              `json:"x16,omitempty" protobuf:"varint,36,opt,name=x16" thrift:"36"`
+	X17  int64              `json:"x17,omitempty" protobuf:"varint,37,opt,name=x17" thrift:"37"`
+	X18  int64              `json:"x18,omitempty" protobuf:"varint,38,opt,name=x18" thrift:"38"`
+	X19  int64              `json:"x19,omitempty" protobuf:"varint,39,opt,name=x19" thrift:"39"`
+	X20  int64              `json:"x20,omitempty" protobuf:"varint,40,opt,name=x20" thrift:"40"`
+	X21  int64              `json:"x21,omitempty" protobuf:"varint,41,opt,name=x21" thrift:"41"`
+	X22  int64              `json:"x22,omitempty" protobuf:"varint,42,opt,name=x22" thrift:"42"`
+	X23  int64              `json:"x23,omitempty" protobuf:"varint,43,opt,name=x23" thrift:"43"`
 }
 
 type Peer039 struct {
@@ -565,11 +1565,36 @@ type Peer039 struct {
 }
 
 type Rec040 struct {
-	V    int64    `json:"v" protobuf:"varint,1,opt,name=v" thrift:"1"`
-	Next *Rec040  `json:"next,omitempty" protobuf:"bytes,2,opt,name=next" thrift:"2"`
-	Kids []Rec040 `json:"kids,omitempty" protobuf:"bytes,3,rep,name=kids" thrift:"3"`
-	Peer *Peer040 `json:"peer,omitempty" protobuf:"bytes,4,opt,name=peer" thrift:"4"`
-	S    string   `json:"s,omitempty" protobuf:"bytes,5,opt,name=s" thrift:"5"`
+	M    map[string]Peer040 `json:"m,omitempty" protobuf:"bytes,6,rep,name=m" protobuf_key:"bytes,1,opt,name=key" protobuf_val:"bytes,2,opt,name=value" thrift:"6"`
+	V    int64              `json:"v" protobuf:"varint,1,opt,name=v" thrift:"1"`
+	Next *Rec040            `json:"next,omitempty" protobuf:"bytes,2,opt,name=next" thrift:"2"`
+	Kids []Rec040           `json:"kids,omitempty" protobuf:"bytes,3,rep,name=kids" thrift:"3"`
+	Peer *Peer040           `json:"peer,omitempty" protobuf:"bytes,4,opt,name=peer" thrift:"4"`
+	S    string             `json:"s,omitempty" protobuf:"bytes,5,opt,name=s" thrift:"5"`
+	X00  int64              `json:"x0,omitempty" protobuf:"varint,20,opt,name=x0" thrift:"20"`
+	X01  int64              `json:"x1,omitempty" protobuf:"varint,21,opt,name=x1" thrift:"21"`
+	X02  int64              `json:"x2,omitempty" protobuf:"varint,22,opt,name=x2" thrift:"22"`
+	X03  int64              `json:"x3,omitempty" protobuf:"varint,23,opt,name=x3" thrift:"23"`
+	X04  int64              `json:"x4,omitempty" protobuf:"varint,24,opt,name=x4" thrift:"24"`
+	X05  int64              `json:"x5,omitempty" protobuf:"varint,25,opt,name=x5" thrift:"25"`
+	X06  int64              `json:"x6,omitempty" protobuf:"varint,26,opt,name=x6" thrift:"26"`
+	X07  int64              `json:"x7,omitempty" protobuf:"varint,27,opt,name=x7" thrift:"27"`
+	X08  int64              `json:"x8,omitempty" protobuf:"varint,28,opt,name=x8" thrift:"28"`
+	X09  int64              `json:"x9,omitempty" protobuf:"varint,29,opt,name=x9" thrift:"29"`
+	X10  int64              `json:"x10,omitempty" protobuf:"varint,30,opt,name=x10" thrift:"30"`
+	X11  int64              `json:"x11,omitempty" protobuf:"varint,31,opt,name=x11" thrift:"31"`
+	X12  int64              `json:"x12,omitempty" protobuf:"varint,32,opt,name=x12" thrift:"32"`
+	X13  int64              `json:"x13,omitempty" protobuf:"varint,33,opt,name=x13" thrift:"33"`
+	X14  int64              `json:"x14,omitempty" protobuf:"varint,34,opt,name=x14" thrift:"34"`
+	X15  int64              `json:"x15,omitempty" protobuf:"varint,35,opt,name=x15" thrift:"35"`
+	X16  int64              `json:"x16,omitempty" protobuf:"varint,36,opt,name=x16" thrift:"36"`
+	X17  int64              `json:"x17,omitempty" protobuf:"varint,37,opt,name=x17" thrift:"37"`
+	X18  int64              `json:"x18,omitempty" protobuf:"varint,38,opt,name=x18" thrift:"38"`
+	X19  int64              `json:"x19,omitempty" protobuf:"varint,39,opt,name=x19" thrift:"39"`
+	X20  int64              `json:"x20,omitempty" protobuf:"varint,40,opt,name=x20" thrift:"40"`
+	X21  int64              `json:"x21,omitempty" protobuf:"varint,41,opt,name=x21" thrift:"41"`
+	X22  int64              `json:"x22,omitempty" protobuf:"varint,42,opt,name=x22" thrift:"42"`
+	X23  int64              `json:"x23,omitempty" protobuf:"varint,43,opt,name=x23" thrift:"43"`
 }
 
 type Peer040 struct {
@@ -579,11 +1604,36 @@ type Peer040 struct {
 }
 
 type Rec041 struct {
-	V    int64    `json:"v" protobuf:"varint,1,opt,name=v" thrift:"1"`
-	Next *Rec041  `json:"next,omitempty" protobuf:"bytes,2,opt,name=next" thrift:"2"`
-	Kids []Rec041 `json:"kids,omitempty" protobuf:"bytes,3,rep,name=kids" thrift:"3"`
-	Peer *Peer041 `json:"peer,omitempty" protobuf:"bytes,4,opt,name=peer" thrift:"4"`
-	S    string   `json:"s,omitempty" protobuf:"bytes,5,opt,name=s" thrift:"5"`
+	M    map[string]Peer041 `json:"m,omitempty" protobuf:"bytes,6,rep,name=m" protobuf_key:"bytes,1,opt,name=key" protobuf_val:"bytes,2,opt,name=value" thrift:"6"`
+	V    int64              `json:"v" protobuf:"varint,1,opt,name=v" thrift:"1"`
+	Next *Rec041            `json:"next,omitempty" protobuf:"bytes,2,opt,name=next" thrift:"2"`
+	Kids []Rec041           `json:"kids,omitempty" protobuf:"bytes,3,rep,name=kids" thrift:"3"`
+	Peer *Peer041           `json:"peer,omitempty" protobuf:"bytes,4,opt,name=peer" thrift:"4"`
+	S    string             `json:"s,omitempty" protobuf:"bytes,5,opt,name=s" thrift:"5"`
+	X00  int64              `json:"x0,omitempty" protobuf:"varint,20,opt,name=x0" thrift:"20"`
+	X01  int64              `json:"x1,omitempty" protobuf:"varint,21,opt,name=x1" thrift:"21"`
+	X02  int64              `json:"x2,omitempty" protobuf:"varint,22,opt,name=x2" thrift:"22"`
+	X03  int64              `json:"x3,omitempty" protobuf:"varint,23,opt,name=x3" thrift:"23"`
+	X04  int64              `json:"x4,omitempty" protobuf:"varint,24,opt,name=x4" thrift:"24"`
+	X05  int64              `json:"x5,omitempty" protobuf:"varint,25,opt,name=x5" thrift:"25"`
+	X06  int64              `json:"x6,omitempty" protobuf:"varint,26,opt,name=x6" thrift:"26"`
+	X07  int64              `json:"x7,omitempty" protobuf:"varint,27,opt,name=x7" thrift:"27"`
+	X08  int64              `json:"x8,omitempty" protobuf:"varint,28,opt,name=x8" thrift:"28"`
+	X09  int64              `json:"x9,omitempty" protobuf:"varint,29,opt,name=x9" thrift:"29"`
+	X10  int64              `json:"x10,omitempty" protobuf:"varint,30,opt,name=x10" thrift:"30"`
+	X11  int64              `json:"x11,omitempty" protobuf:"varint,31,opt,name=x11" thrift:"31"`
+	X12  int64              `json:"x12,omitempty" protobuf:"varint,32,opt,name=x12" thrift:"32"`
+	X13  int64              `json:"x13,omitempty" protobuf:"varint,33,opt,name=x13" thrift:"33"`
+	X14  int64              `json:"x14,omitempty" protobuf:"varint,34,opt,name=x14" thrift:"34"`
+	X15  int64              `json:"x15,omitempty" protobuf:"varint,35,opt,name=x15" thrift:"35"`
+	X16  int64              `json:"x16,omitempty" protobuf:"varint,36,opt,name=x16" thrift:"36"`
+	X17  int64              `json:"x17,omitempty" protobuf:"varint,37,opt,name=x17" thrift:"37"`
+	X18  int64              `json:"x18,omitempty" protobuf:"varint,38,opt,name=x18" thrift:"38"`
+	X19  int64              `json:"x19,omitempty" protobuf:"varint,39,opt,name=x19" thrift:"39"`
+	X20  int64              `json:"x20,omitempty" protobuf:"varint,40,opt,name=x20" thrift:"40"`
+	X21  int64              `json:"x21,omitempty" protobuf:"varint,41,opt,name=x21" thrift:"41"`
+	X22  int64              `json:"x22,omitempty" protobuf:"varint,42,opt,name=x22" thrift:"42"`
+	X23  int64              `json:"x23,omitempty" protobuf:"varint,43,opt,name=x23" thrift:"43"`
 }
 
 type Peer041 struct {
@@ -593,11 +1643,36 @@ type Peer041 struct {
 }
 
 type Rec042 struct {
-	V    int64    `json:"v" protobuf:"varint,1,opt,name=v" thrift:"1"`
-	Next *Rec042  `json:"next,omitempty" protobuf:"bytes,2,opt,name=next" thrift:"2"`
-	Kids []Rec042 `json:"kids,omitempty" protobuf:"bytes,3,rep,name=kids" thrift:"3"`
-	Peer *Peer042 `json:"peer,omitempty" protobuf:"bytes,4,opt,name=peer" thrift:"4"`
-	S    string   `json:"s,omitempty" protobuf:"bytes,5,opt,name=s" thrift:"5"`
+	M    map[string]Peer042 `json:"m,omitempty" protobuf:"bytes,6,rep,name=m" protobuf_key:"bytes,1,opt,name=key" protobuf_val:"bytes,2,opt,name=value" thrift:"6"`
+	V    int64              `json:"v" protobuf:"varint,1,opt,name=v" thrift:"1"`
+	Next *Rec042            `json:"next,omitempty" protobuf:"bytes,2,opt,name=next" thrift:"2"`
+	Kids []Rec042           `json:"kids,omitempty" protobuf:"bytes,3,rep,name=kids" thrift:"3"`
+	Peer *Peer042           `json:"peer,omitempty" protobuf:"bytes,4,opt,name=peer" thrift:"4"`
+	S    string             `json:"s,omitempty" protobuf:"bytes,5,opt,name=s" thrift:"5"`
+	X00  int64              `json:"x0,omitempty" protobuf:"varint,20,opt,name=x0" thrift:"20"`
+	X01  int64              `json:"x1,omitempty" protobuf:"varint,21,opt,name=x1" thrift:"21"`
+	X02  int64              `json:"x2,omitempty" protobuf:"varint,22,opt,name=x2" thrift:"22"`
+	X03  int64              `json:"x3,omitempty" protobuf:"varint,23,opt,name=x3" thrift:"23"`
+	X04  int64              `json:"x4,omitempty" protobuf:"varint,24,opt,name=x4" thrift:"24"`
+	X05  int64              `json:"x5,omitempty" protobuf:"varint,25,opt,name=x5" thrift:"25"`
+	X06  int64              `json:"x6,omitempty" protobuf:"varint,26,opt,name=x6" thrift:"26"`
+	X07  int64              `json:"x7,omitempty" protobuf:"varint,27,opt,name=x7" thrift:"27"`
+	X08  int64              `json:"x8,omitempty" protobuf:"varint,28,opt,name=x8" thrift:"28"`
+	X09  int64              `json:"x9,omitempty" protobuf:"varint,29,opt,name=x9" thrift:"29"`
+	X10  int64              `json:"x10,omitempty" protobuf:"varint,30,opt,name=x10" thrift:"30"`
+	X11  int64              `json:"x11,omitempty" protobuf:"varint,31,opt,name=x11" thrift:"31"`
+	X12  int64              `json:"x12,omitempty" protobuf:"varint,32,opt,name=x12" thrift:"32"`
+	X13  int64              `json:"x13,omitempty" protobuf:"varint,33,opt,name=x13" thrift:"33"`
+	X14  int64              `json:"x14,omitempty" protobuf:"varint,34,opt,name=x14" thrift:"34"`
+	X15  int64              `json:"x15,omitempty" protobuf:"varint,35,opt,name=x15" thrift:"35"`
+	X16  int64              `json:"x16,omitempty" protobuf:"varint,36,opt,name=x16" thrift:"36"`
+	X17  int64              `json:"x17,omitempty" protobuf:"varint,37,opt,name=x17" thrift:"37"`
+	X18  int64              `json:"x18,omitempty" protobuf:"varint,38,opt,name=x18" thrift:"38"`
+	X19  int64              `json:"x19,omitempty" protobuf:"varint,39,opt,name=x19" thrift:"39"`
+	X20  int64              `json:"x20,omitempty" protobuf:"varint,40,opt,name=x20" thrift:"40"`
+	X21  int64              `json:"x21,omitempty" protobuf:"varint,41,opt,name=x21" thrift:"41"`
+	X22  int64              `json:"x22,omitempty" protobuf:"varint,42,opt,name=x22" thrift:"42"`
+	X23  int64              `json:"x23,omitempty" protobuf:"varint,43,opt,name=x23" thrift:"43"`
 }
 
 type Peer042 struct {
@@ -607,11 +1682,36 @@ type Peer042 struct {
 }
 
 type Rec043 struct {
-	V    int64    `json:"v" protobuf:"varint,1,opt,name=v" thrift:"1"`
-	Next *Rec043  `json:"next,omitempty" protobuf:"bytes,2,opt,name=next" thrift:"2"`
-	Kids []Rec043 `json:"kids,omitempty" protobuf:"bytes,3,rep,name=kids" thrift:"3"`
-	Peer *Peer043 `json:"peer,omitempty" protobuf:"bytes,4,opt,name=peer" thrift:"4"`
-	S    string   `json:"s,omitempty" protobuf:"bytes,5,opt,name=s" thrift:"5"`
+	M    map[string]Peer043 `json:"m,omitempty" protobuf:"bytes,6,rep,name=m" protobuf_key:"bytes,1,opt,name=key" protobuf_val:"bytes,2,opt,name=value" thrift:"6"`
+	V    int64              `json:"v" protobuf:"varint,1,opt,name=v" thrift:"1"`
+	Next *Rec043            `json:"next,omitempty" protobuf:"bytes,2,opt,name=next" thrift:"2"`
+	Kids []Rec043           `json:"kids,omitempty" protobuf:"bytes,3,rep,name=kids" thrift:"3"`
+	Peer *Peer043           `json:"peer,omitempty" protobuf:"bytes,4,opt,name=peer" thrift:"4"`
+	S    string             `json:"s,omitempty" protobuf:"bytes,5,opt,name=s" thrift:"5"`
+	X00  int64              `json:"x0,omitempty" protobuf:"varint,20,opt,name=x0" thrift:"20"`
+	X01  int64              `json:"x1,omitempty" protobuf:"varint,21,opt,name=x1" thrift:"21"`
+	X02  int64              `json:"x2,omitempty" protobuf:"varint,22,opt,name=x2" thrift:"22"`
+	X03  int64              `json:"x3,omitempty" protobuf:"varint,23,opt,name=x3" thrift:"23"`
+	X04  int64              `json:"x4,omitempty" protobuf:"varint,24,opt,name=x4" thrift:"24"`
+	X05  int64              `json:"x5,omitempty" protobuf:"varint,25,opt,name=x5" thrift:"25"`
+	X06  int64              `json:"x6,omitempty" protobuf:"varint,26,opt,name=x6" thrift:"26"`
+	X07  int64              `json:"x7,omitempty" protobuf:"varint,27,opt,name=x7" thrift:"27"`
+	X08  int64              `json:"x8,omitempty" protobuf:"varint,28,opt,name=x8" thrift:"28"`
+	X09  int64              `json:"x9,omitempty" protobuf:"varint,29,opt,name=x9" thrift:"29"`
+	X10  int64              `json:"x10,omitempty" protobuf:"varint,30,opt,name=x10" thrift:"30"`
+	X11  int64              `json:"x11,omitempty" protobuf:"varint,31,opt,name=x11" thrift:"31"`
+	X12  int64              `json:"x12,omitempty" protobuf:"varint,32,opt,name=x12" thrift:"32"`
+	X13  int64              `json:"x13,omitempty" protobuf:"varint,33,opt,name=x13" thrift:"33"`
+	X14  int64              `json:"x14,omitempty" protobuf:"varint,34,opt,name=x14" thrift:"34"`
+	X15  int64              `json:"x15,omitempty" protobuf:"varint,35,opt,name=x15" thrift:"35"`
+	X16  int64              `json:"x16,omitempty" protobuf:"varint,36,opt,name=x16" thrift:"36"`
+	X17  int64              `json:"x17,omitempty" protobuf:"varint,37,opt,name=x17" thrift:"37"`
+	X18  int64              `json:"x18,omitempty" protobuf:"varint,38,opt,name=x18" thrift:"38"`
+	X19  int64              `json:"x19,omitempty" protobuf:"varint,39,opt,name=x19" thrift:"39"`
+	X20  int64              `json:"x20,omitempty" protobuf:"varint,40,opt,name=x20" thrift:"40"`
+	X21  int64              `json:"x21,omitempty" protobuf:"varint,41,opt,name=x21" thrift:"41"`
+	X22  int64              `json:"x22,omitempty" protobuf:"varint,42,opt,name=x22" thrift:"42"`
+	X23  int64              `json:"x23,omitempty" protobuf:"varint,43,opt,name=x23" thrift:"43"`
 }
 
 type Peer043 struct {
@@ -621,11 +1721,36 @@ type Peer043 struct {
 }
 
 type Rec044 struct {
-	V    int64    `json:"v" protobuf:"varint,1,opt,name=v" thrift:"1"`
-	Next *Rec044  `json:"next,omitempty" protobuf:"bytes,2,opt,name=next" thrift:"2"`
-	Kids []Rec044 `json:"kids,omitempty" protobuf:"bytes,3,rep,name=kids" thrift:"3"`
-	Peer *Peer044 `json:"peer,omitempty" protobuf:"bytes,4,opt,name=peer" thrift:"4"`
-	S    string   `json:"s,omitempty" protobuf:"bytes,5,opt,name=s" thrift:"5"`
+	M    map[string]Peer044 `json:"m,omitempty" protobuf:"bytes,6,rep,name=m" protobuf_key:"bytes,1,opt,name=key" protobuf_val:"bytes,2,opt,name=value" thrift:"6"`
+	V    int64              `json:"v" protobuf:"varint,1,opt,name=v" thrift:"1"`
+	Next *Rec044            `json:"next,omitempty" protobuf:"bytes,2,opt,name=next" thrift:"2"`
+	Kids []Rec044           `json:"kids,omitempty" protobuf:"bytes,3,rep,name=kids" thrift:"3"`
+	Peer *Peer044           `json:"peer,omitempty" protobuf:"bytes,4,opt,name=peer" thrift:"4"`
+	S    string             `json:"s,omitempty" protobuf:"bytes,5,opt,name=s" thrift:"5"`
+	X00  int64              `json:"x0,omitempty" protobuf:"varint,20,opt,name=x0" thrift:"20"`
+	X01  int64              `json:"x1,omitempty" protobuf:"varint,21,opt,name=x1" thrift:"21"`
+	X02  int64              `json:"x2,omitempty" protobuf:"varint,22,opt,name=x2" thrift:"22"`
+	X03  int64              `json:"x3,omitempty" protobuf:"varint,23,opt,name=x3" thrift:"23"`
+	X04  int64              `json:"x4,omitempty" protobuf:"varint,24,opt,name=x4" thrift:"24"`
+	X05  int64              `json:"x5,omitempty" protobuf:"varint,25,opt,name=x5" thrift:"25"`
+	X06  int64              `json:"x6,omitempty" protobuf:"varint,26,opt,name=x6" thrift:"26"`
+	X07  int64              `json:"x7,omitempty" protobuf:"varint,27,opt,name=x7" thrift:"27"`
+	X08  int64              `json:"x8,omitempty" protobuf:"varint,28,opt,name=x8" thrift:"28"`
+	X09  int64              `json:"x9,omitempty" protobuf:"varint,29,opt,name=x9" thrift:"29"`
+	X10  int64              `json:"x10,omitempty" protobuf:"varint,30,opt,name=x10" thrift:"30"`
+	X11  int64              `json:"x11,omitempty" protobuf:"varint,31,opt,name=x11" thrift:"31"`
+	X12  int64              `json:"x12,omitempty" protobuf:"varint,32,opt,name=x12" thrift:"32"`
+	X13  int64              `json:"x13,omitempty" protobuf:"varint,33,opt,name=x13" thrift:"33"`
+	X14  int64              `json:"x14,omitempty" protobuf:"varint,34,opt,name=x14" thrift:"34"`
+	X15  int64              `json:"x15,omitempty" protobuf:"varint,35,opt,name=x15" thrift:"35"`
+	X16  int64              `json:"x16,omitempty" protobuf:"varint,36,opt,name=x16" thrift:"36"`
+	X17  int64              `json:"x17,omitempty" protobuf:"varint,37,opt,name=x17" thrift:"37"`
+	X18  int64              `json:"x18,omitempty" protobuf:"varint,38,opt,name=x18" thrift:"38"`
+	X19  int64              `json:"x19,omitempty" protobuf:"varint,39,opt,name=x19" thrift:"39"`
+	X20  int64              `json:"x20,omitempty" protobuf:"varint,40,opt,name=x20" thrift:"40"`
+	X21  int64              `json:"x21,omitempty" protobuf:"varint,41,opt,name=x21" thrift:"41"`
+	X22  int64              `json:"x22,omitempty" protobuf:"varint,42,opt,name=x22" thrift:"42"`
+	X23  int64              `json:"x23,omitempty" protobuf:"varint,43,opt,name=x23" thrift:"43"`
 }
 
 type Peer044 struct {
@@ -635,11 +1760,36 @@ type Peer044 struct {
 }
 
 type Rec045 struct {
-	V    int64    `json:"v" protobuf:"varint,1,opt,name=v" thrift:"1"`
-	Next *Rec045  `json:"next,omitempty" protobuf:"bytes,2,opt,name=next" thrift:"2"`
-	Kids []Rec045 `json:"kids,omitempty" protobuf:"bytes,3,rep,name=kids" thrift:"3"`
-	Peer *Peer045 `json:"peer,omitempty" protobuf:"bytes,4,opt,name=peer" thrift:"4"`
-	S    string   `json:"s,omitempty" protobuf:"bytes,5,opt,name=s" thrift:"5"`
+	M    map[string]Peer045 `json:"m,omitempty" protobuf:"bytes,6,rep,name=m" protobuf_key:"bytes,1,opt,name=key" protobuf_val:"bytes,2,opt,name=value" thrift:"6"`
+	V    int64              `json:"v" protobuf:"varint,1,opt,name=v" thrift:"1"`
+	Next *Rec045            `json:"next,omitempty" protobuf:"bytes,2,opt,name=next" thrift:"2"`
+	Kids []Rec045           `json:"kids,omitempty" protobuf:"bytes,3,rep,name=kids" thrift:"3"`
+	Peer *Peer045           `json:"peer,omitempty" protobuf:"bytes,4,opt,name=peer" thrift:"4"`
+	S    string             `json:"s,omitempty" protobuf:"bytes,5,opt,name=s" thrift:"5"`
+	X00  int64              `json:"x0,omitempty" protobuf:"varint,20,opt,name=x0" thrift:"20"`
+	X01  int64              `json:"x1,omitempty" protobuf:"varint,21,opt,name=x1" thrift:"21"`
+	X02  int64              `json:"x2,omitempty" protobuf:"varint,22,opt,name=x2" thrift:"22"`
+	X03  int64              `json:"x3,omitempty" protobuf:"varint,23,opt,name=x3" thrift:"23"`
+	X04  int64              `json:"x4,omitempty" protobuf:"varint,24,opt,name=x4" thrift:"24"`
+	X05  int64              `json:"x5,omitempty" protobuf:"varint,25,opt,name=x5" thrift:"25"`
+	X06  int64              `json:"x6,omitempty" protobuf:"varint,26,opt,name=x6" thrift:"26"`
+	X07  int64              `json:"x7,omitempty" protobuf:"varint,27,opt,name=x7" thrift:"27"`
+	X08  int64              `json:"x8,omitempty" protobuf:"varint,28,opt,name=x8" thrift:"28"`
+	X09  int64              `json:"x9,omitempty" protobuf:"varint,29,opt,name=x9" thrift:"29"`
+	X10  int64              `json:"x10,omitempty" protobuf:"varint,30,opt,name=x10" thrift:"30"`
+	X11  int64              `json:"x11,omitempty" protobuf:"varint,31,opt,name=x11" thrift:"31"`
+	X12  int64              `json:"x12,omitempty" protobuf:"varint,32,opt,name=x12" thrift:"32"`
+	X13  int64              `json:"x13,omitempty" protobuf:"varint,33,opt,name=x13" thrift:"33"`
+	X14  int64              `json:"x14,omitempty" protobuf:"varint,34,opt,name=x14" thrift:"34"`
+	X15  int64              `json:"x15,omitempty" protobuf:"varint,35,opt,name=x15" thrift:"35"`
+	X16  int64              `json:"x16,omitempty" protobuf:"varint,36,opt,name=x16" thrift:"36"`
+	X17  int64              `json:"x17,omitempty" protobuf:"varint,37,opt,name=x17" thrift:"37"`
+	X18  int64              `json:"x18,omitempty" protobuf:"varint,38,opt,name=x18" thrift:"38"`
+	X19  int64              `json:"x19,omitempty" protobuf:"varint,39,opt,name=x19" thrift:"39"`
+	X20  int64              `json:"x20,omitempty" protobuf:"varint,40,opt,name=x20" thrift:"40"`
+	X21  int64              `json:"x21,omitempty" protobuf:"varint,41,opt,name=x21" thrift:"41"`
+	X22  int64              `json:"x22,omitempty" protobuf:"varint,42,opt,name=x22" thrift:"42"`
+	X23  int64              `json:"x23,omitempty" protobuf:"varint,43,opt,name=x23" thrift:"43"`
 }
 
 type Peer045 struct {
@@ -649,11 +1799,36 @@ type Peer045 struct {
 }
 
 type Rec046 struct {
-	V    int64    `json:"v" protobuf:"varint,1,opt,name=v" thrift:"1"`
-	Next *Rec046  `json:"next,omitempty" protobuf:"bytes,2,opt,name=next" thrift:"2"`
-	Kids []Rec046 `json:"kids,omitempty" protobuf:"bytes,3,rep,name=kids" thrift:"3"`
-	Peer *Peer046 `json:"peer,omitempty" protobuf:"bytes,4,opt,name=peer" thrift:"4"`
-	S    string   `json:"s,omitempty" protobuf:"bytes,5,opt,name=s" thrift:"5"`
+	M    map[string]Peer046 `json:"m,omitempty" protobuf:"bytes,6,rep,name=m" protobuf_key:"bytes,1,opt,name=key" protobuf_val:"bytes,2,opt,name=value" thrift:"6"`
+	V    int64              `json:"v" protobuf:"varint,1,opt,name=v" thrift:"1"`
+	Next *Rec046            `json:"next,omitempty" protobuf:"bytes,2,opt,name=next" thrift:"2"`
+	Kids []Rec046           `json:"kids,omitempty" protobuf:"bytes,3,rep,name=kids" thrift:"3"`
+	Peer *Peer046           `json:"peer,omitempty" protobuf:"bytes,4,opt,name=peer" thrift:"4"`
+	S    string             `json:"s,omitempty" protobuf:"bytes,5,opt,name=s" thrift:"5"`
+	X00  int64              `json:"x0,omitempty" protobuf:"varint,20,opt,name=x0" thrift:"20"`
+	X01  int64              `json:"x1,omitempty" protobuf:"varint,21,opt,name=x1" thrift:"21"`
+	X02  int64              `json:"x2,omitempty" protobuf:"varint,22,opt,name=x2" thrift:"22"`
+	X03  int64              `json:"x3,omitempty" protobuf:"varint,23,opt,name=x3" thrift:"23"`
+	X04  int64              `json:"x4,omitempty" protobuf:"varint,24,opt,name=x4" thrift:"24"`
+	X05  int64              `json:"x5,omitempty" protobuf:"varint,25,opt,name=x5" thrift:"25"`
+	X06  int64              `json:"x6,omitempty" protobuf:"varint,26,opt,name=x6" thrift:"26"`
+	X07  int64              `json:"x7,omitempty" protobuf:"varint,27,opt,name=x7" thrift:"27"`
+	X08  int64              `json:"x8,omitempty" protobuf:"varint,28,opt,name=x8" thrift:"28"`
+	X09  int64              `json:"x9,omitempty" protobuf:"varint,29,opt,name=x9" thrift:"29"`
+	X10  int64              `json:"x10,omitempty" protobuf:"varint,30,opt,name=x10" thrift:"30"`
+	X11  int64              `json:"x11,omitempty" protobuf:"varint,31,opt,name=x11" thrift:"31"`
+	X12  int64              `json:"x12,omitempty" protobuf:"varint,32,opt,name=x12" thrift:"32"`
+	X13  int64              `json:"x13,omitempty" protobuf:"varint,33,opt,name=x13" thrift:"33"`
+	X14  int64              `json:"x14,omitempty" protobuf:"varint,34,opt,name=x14" thrift:"34"`
+	X15  int64              `json:"x15,omitempty" protobuf:"varint,35,opt,name=x15" thrift:"35"`
+	X16  int64              `json:"x16,omitempty" protobuf:"varint,36,opt,name=x16" thrift:"36"`
+	X17  int64              `json:"x17,omitempty" protobuf:"varint,37,opt,name=x17" thrift:"37"`
+	X18  int64              `json:"x18,omitempty" protobuf:"varint,38,opt,name=x18" thrift:"38"`
+	X19  int64              `json:"x19,omitempty" protobuf:"varint,39,opt,name=x19" thrift:"39"`
+	X20  int64              `json:"x20,omitempty" protobuf:"varint,40,opt,name=x20" thrift:"40"`
+	X21  int64              `json:"x21,omitempty" protobuf:"varint,41,opt,name=x21" thrift:"41"`
+	X22  int64              `json:"x22,omitempty" protobuf:"varint,42,opt,name=x22" thrift:"42"`
+	X23  int64              `json:"x23,omitempty" protobuf:"varint,43,opt,name=x23" thrift:"43"`
 }
 
 type Peer046 struct {
@@ -663,11 +1838,36 @@ type Peer046 struct {
 }
 
 type Rec047 struct {
-	V    int64    `json:"v" protobuf:"varint,1,opt,name=v" thrift:"1"`
-	Next *Rec047  `json:"next,omitempty" protobuf:"bytes,2,opt,name=next" thrift:"2"`
-	Kids []Rec047 `json:"kids,omitempty" protobuf:"bytes,3,rep,name=kids" thrift:"3"`
-	Peer *Peer047 `json:"peer,omitempty" protobuf:"bytes,4,opt,name=peer" thrift:"4"`
-	S    string   `json:"s,omitempty" protobuf:"bytes,5,opt,name=s" thrift:"5"`
+	M    map[string]Peer047 `json:"m,omitempty" protobuf:"bytes,6,rep,name=m" protobuf_key:"bytes,1,opt,name=key" protobuf_val:"bytes,2,opt,name=value" thrift:"6"`
+	V    int64              `json:"v" protobuf:"varint,1,opt,name=v" thrift:"1"`
+	Next *Rec047            `json:"next,omitempty" protobuf:"bytes,2,opt,name=next" thrift:"2"`
+	Kids []Rec047           `json:"kids,omitempty" protobuf:"bytes,3,rep,name=kids" thrift:"3"`
+	Peer *Peer047           `json:"peer,omitempty" protobuf:"bytes,4,opt,name=peer" thrift:"4"`
+	S    string             `json:"s,omitempty" protobuf:"bytes,5,opt,name=s" thrift:"5"`
+	X00  int64              `json:"x0,omitempty" protobuf:"varint,20,opt,name=x0" thrift:"20"`
+	X01  int64              `json:"x1,omitempty" protobuf:"varint,21,opt,name=x1" thrift:"21"`
+	X02  int64              `json:"x2,omitempty" protobuf:"varint,22,opt,name=x2" thrift:"22"`
+	X03  int64              `json:"x3,omitempty" protobuf:"varint,23,opt,name=x3" thrift:"23"`
+	X04  int64              `json:"x4,omitempty" protobuf:"varint,24,opt,name=x4" thrift:"24"`
+	X05  int64              `json:"x5,omitempty" protobuf:"varint,25,opt,name=x5" thrift:"25"`
+	X06  int64              `json:"x6,omitempty" protobuf:"varint,26,opt,name=x6" thrift:"26"`
+	X07  int64              `json:"x7,omitempty" protobuf:"varint,27,opt,name=x7" thrift:"27"`
+	X08  int64              `json:"x8,omitempty" protobuf:"varint,28,opt,name=x8" thrift:"28"`
+	X09  int64              `json:"x9,omitempty" protobuf:"varint,29,opt,name=x9" thrift:"29"`
+	X10  int64              `json:"x10,omitempty" protobuf:"varint,30,opt,name=x10" thrift:"30"`
+	X11  int64              `json:"x11,omitempty" protobuf:"varint,31,opt,name=x11" thrift:"31"`
+	X12  int64              `json:"x12,omitempty" protobuf:"varint,32,opt,name=x12" thrift:"32"`
+	X13  int64              `json:"x13,omitempty" protobuf:"varint,33,opt,name=x13" thrift:"33"`
+	X14  int64              `json:"x14,omitempty" protobuf:"varint,34,opt,name=x14" thrift:"34"`
+	X15  int64              `json:"x15,omitempty" protobuf:"varint,35,opt,name=x15" thrift:"35"`
+	X16  int64              `json:"x16,omitempty" protobuf:"varint,36,opt,name=x16" thrift:"36"`
+	X17  int64              `json:"x17,omitempty" protobuf:"varint,37,opt,name=x17" thrift:"37"`
+	X18  int64              `json:"x18,omitempty" protobuf:"varint,38,opt,name=x18" thrift:"38"`
+	X19  int64              `json:"x19,omitempty" protobuf:"varint,39,opt,name=x19" thrift:"39"`
+	X20  int64              `json:"x20,omitempty" protobuf:"varint,40,opt,name=x20" thrift:"40"`
+	X21  int64              `json:"x21,omitempty" protobuf:"varint,41,opt,name=x21" thrift:"41"`
+	X22  int64              `json:"x22,omitempty" protobuf:"varint,42,opt,name=x22" thrift:"42"`
+	X23  int64              `json:"x23,omitempty" protobuf:"varint,43,opt,name=x23" thrift:"43"`
 }
 
 type Peer047 struct {
@@ -677,11 +1877,36 @@ type Peer047 struct {
 }
 
 type Rec048 struct {
-	V    int64    `json:"v" protobuf:"varint,1,opt,name=v" thrift:"1"`
-	Next *Rec048  `json:"next,omitempty" protobuf:"bytes,2,opt,name=next" thrift:"2"`
-	Kids []Rec048 `json:"kids,omitempty" protobuf:"bytes,3,rep,name=kids" thrift:"3"`
-	Peer *Peer048 `json:"peer,omitempty" protobuf:"bytes,4,opt,name=peer" thrift:"4"`
-	S    string   `json:"s,omitempty" protobuf:"bytes,5,opt,name=s" thrift:"5"`
+	M    map[string]Peer048 `json:"m,omitempty" protobuf:"bytes,6,rep,name=m" protobuf_key:"bytes,1,opt,name=key" protobuf_val:"bytes,2,opt,name=value" thrift:"6"`
+	V    int64              `json:"v" protobuf:"varint,1,opt,name=v" thrift:"1"`
+	Next *Rec048            `json:"next,omitempty" protobuf:"bytes,2,opt,name=next" thrift:"2"`
+	Kids []Rec048           `json:"kids,omitempty" protobuf:"bytes,3,rep,name=kids" thrift:"3"`
+	Peer *Peer048           `json:"peer,omitempty" protobuf:"bytes,4,opt,name=peer" thrift:"4"`
+	S    string             `json:"s,omitempty" protobuf:"bytes,5,opt,name=s" thrift:"5"`
+	X00  int64              `json:"x0,omitempty" protobuf:"varint,20,opt,name=x0" thrift:"20"`
+	X01  int64              `json:"x1,omitempty" protobuf:"varint,21,opt,name=x1" thrift:"21"`
+	X02  int64              `json:"x2,omitempty" protobuf:"varint,22,opt,name=x2" thrift:"22"`
+	X03  int64              `json:"x3,omitempty" protobuf:"varint,23,opt,name=x3" thrift:"23"`
+	X04  int64              `json:"x4,omitempty" protobuf:"varint,24,opt,name=x4" thrift:"24"`
+	X05  int64              `json:"x5,omitempty" protobuf:"varint,25,opt,name=x5" thrift:"25"`
+	X06  int64              `json:"x6,omitempty" protobuf:"varint,26,opt,name=x6" thrift:"26"`
+	X07  int64              `json:"x7,omitempty" protobuf:"varint,27,opt,name=x7" thrift:"27"`
+	X08  int64              `json:"x8,omitempty" protobuf:"varint,28,opt,name=x8" thrift:"28"`
+	X09  int64              `json:"x9,omitempty" protobuf:"varint,29,opt,name=x9" thrift:"29"`
+	X10  int64              `json:"x10,omitempty" protobuf:"varint,30,opt,name=x10" thrift:"30"`
+	X11  int64              `json:"x11,omitempty" protobuf:"varint,31,opt,name=x11" thrift:"31"`
+	X12  int64              `json:"x12,omitempty" protobuf:"varint,32,opt,name=x12" thrift:"32"`
+	X13  int64              `json:"x13,omitempty" protobuf:"varint,33,opt,name=x13" thrift:"33"`
+	X14  int64              `json:"x14,omitempty" protobuf:"varint,34,opt,name=x14" thrift:"34"`
+	X15  int64              `json:"x15,omitempty" protobuf:"varint,35,opt,name=x15" thrift:"35"`
+	X16  int64              `json:"x16,omitempty" protobuf:"varint,36,opt,name=x16" thrift:"36"`
+	X17  int64              `json:"x17,omitempty" protobuf:"varint,37,opt,name=x17" thrift:"37"`
+	X18  int64              `json:"x18,omitempty" protobuf:"varint,38,opt,name=x18" thrift:"38"`
+	X19  int64              `json:"x19,omitempty" protobuf:"varint,39,opt,name=x19" thrift:"39"`
+	X20  int64              `json:"x20,omitempty" protobuf:"varint,40,opt,name=x20" thrift:"40"`
+	X21  int64              `json:"x21,omitempty" protobuf:"varint,41,opt,name=x21" thrift:"41"`
+	X22  int64              `json:"x22,omitempty" protobuf:"varint,42,opt,name=x22" thrift:"42"`
+	X23  int64              `json:"x23,omitempty" protobuf:"varint,43,opt,name=x23" thrift:"43"`
 }
 
 type Peer048 struct {
@@ -691,11 +1916,36 @@ type Peer048 struct {
 }
 
 type Rec049 struct {
-	V    int64    `json:"v" protobuf:"varint,1,opt,name=v" thrift:"1"`
-	Next *Rec049  `json:"next,omitempty" protobuf:"bytes,2,opt,name=next" thrift:"2"`
-	Kids []Rec049 `json:"kids,omitempty" protobuf:"bytes,3,rep,name=kids" thrift:"3"`
-	Peer *Peer049 `json:"peer,omitempty" protobuf:"bytes,4,opt,name=peer" thrift:"4"`
-	S    string   `json:"s,omitempty" protobuf:"bytes,5,opt,name=s" thrift:"5"`
+	M    map[string]Peer049 `json:"m,omitempty" protobuf:"bytes,6,rep,name=m" protobuf_key:"bytes,1,opt,name=key" protobuf_val:"bytes,2,opt,name=value" thrift:"6"`
+	V    int64              `json:"v" protobuf:"varint,1,opt,name=v" thrift:"1"`
+	Next *Rec049            `json:"next,omitempty" protobuf:"bytes,2,opt,name=next" thrift:"2"`
+	Kids []Rec049           `json:"kids,omitempty" protobuf:"bytes,3,rep,name=kids" thrift:"3"`
+	Peer *Peer049           `json:"peer,omitempty" protobuf:"bytes,4,opt,name=peer" thrift:"4"`
+	S    string             `json:"s,omitempty" protobuf:"bytes,5,opt,name=s" thrift:"5"`
+	X00  int64              `json:"x0,omitempty" protobuf:"varint,20,opt,name=x0" thrift:"20"`
+	X01  int64              `json:"x1,omitempty" protobuf:"varint,21,opt,name=x1" thrift:"21"`
+	X02  int64              `json:"x2,omitempty" protobuf:"varint,22,opt,name=x2" thrift:"22"`
+	X03  int64              `json:"x3,omitempty" protobuf:"varint,23,opt,name=x3" thrift:"23"`
+	X04  int64              `json:"x4,omitempty" protobuf:"varint,24,opt,name=x4" thrift:"24"`
+	X05  int64              `json:"x5,omitempty" protobuf:"varint,25,opt,name=x5" thrift:"25"`
+	X06  int64              `json:"x6,omitempty" protobuf:"varint,26,opt,name=x6" thrift:"26"`
+	X07  int64              `json:"x7,omitempty" protobuf:"varint,27,opt,name=x7" thrift:"27"`
+	X08  int64              `json:"x8,omitempty" protobuf:"varint,28,opt,name=x8" thrift:"28"`
+	X09  int64              `json:"x9,omitempty" protobuf:"varint,29,opt,name=x9" thrift:"29"`
+	X10  int64              `json:"x10,omitempty" protobuf:"varint,30,opt,name=x10" thrift:"30"`
+	X11  int64              `json:"x11,omitempty" protobuf:"varint,31,opt,name=x11" thrift:"31"`
+	X12  int64              `json:"x12,omitempty" protobuf:"varint,32,opt,name=x12" thrift:"32"`
+	X13  int64              `json:"x13,omitempty" protobuf:"varint,33,opt,name=x13" thrift:"33"`
+	X14  int64              `json:"x14,omitempty" protobuf:"varint,34,opt,name=x14" thrift:"34"`
+	X15  int64              `json:"x15,omitempty" protobuf:"varint,35,opt,name=x15" thrift:"35"`
+	X16  int64              `json:"x16,omitempty" protobuf:"varint,36,opt,name=x16" thrift:"36"`
+	X17  int64              `json:"x17,omitempty" protobuf:"varint,37,opt,name=x17" thrift:"37"`
+	X18  int64              `json:"x18,omitempty" protobuf:"varint,38,opt,name=x18" thrift:"38"`
+	X19  int64              `json:"x19,omitempty" protobuf:"varint,39,opt,name=x19" thrift:"39"`
+	X20  int64              `json:"x20,omitempty" protobuf:"varint,40,opt,name=x20" thrift:"40"`
+	X21  int64              `json:"x21,omitempty" protobuf:"varint,41,opt,name=x21" thrift:"41"`
+	X22  int64              `json:"x22,omitempty" protobuf:"varint,42,opt,name=x22" thrift:"42"`
+	X23  int64              `json:"x23,omitempty" protobuf:"varint,43,opt,name=x23" thrift:"43"`
 }
 
 type Peer049 struct {
@@ -705,11 +1955,36 @@ type Peer049 struct {
 }
 
 type Rec050 struct {
-	V    int64    `json:"v" protobuf:"varint,1,opt,name=v" thrift:"1"`
-	Next *Rec050  `json:"next,omitempty" protobuf:"bytes,2,opt,name=next" thrift:"2"`
-	Kids []Rec050 `json:"kids,omitempty" protobuf:"bytes,3,rep,name=kids" thrift:"3"`
-	Peer *Peer050 `json:"peer,omitempty" protobuf:"bytes,4,opt,name=peer" thrift:"4"`
-	S    string   `json:"s,omitempty" protobuf:"bytes,5,opt,name=s" thrift:"5"`
+	M    map[string]Peer050 `json:"m,omitempty" protobuf:"bytes,6,rep,name=m" protobuf_key:"bytes,1,opt,name=key" protobuf_val:"bytes,2,opt,name=value" thrift:"6"`
+	V    int64              `json:"v" protobuf:"varint,1,opt,name=v" thrift:"1"`
+	Next *Rec050            `json:"next,omitempty" protobuf:"bytes,2,opt,name=next" thrift:"2"`
+	Kids []Rec050           `json:"kids,omitempty" protobuf:"bytes,3,rep,name=kids" thrift:"3"`
+	Peer *Peer050           `json:"peer,omitempty" protobuf:"bytes,4,opt,name=peer" thrift:"4"`
+	S    string             `json:"s,omitempty" protobuf:"bytes,5,opt,name=s" thrift:"5"`
+	X00  int64              `json:"x0,omitempty" protobuf:"varint,20,opt,name=x0" thrift:"20"`
+	X01  int64              `json:"x1,omitempty" protobuf:"varint,21,opt,name=x1" thrift:"21"`
+	X02  int64              `json:"x2,omitempty" protobuf:"varint,22,opt,name=x2" thrift:"22"`
+	X03  int64              `json:"x3,omitempty" protobuf:"varint,23,opt,name=x3" thrift:"23"`
+	X04  int64              `json:"x4,omitempty" protobuf:"varint,24,opt,name=x4" thrift:"24"`
+	X05  int64              `json:"x5,omitempty" protobuf:"varint,25,opt,name=x5" thrift:"25"`
+	X06  int64              `json:"x6,omitempty" protobuf:"varint,26,opt,name=x6" thrift:"26"`
+	X07  int64              `json:"x7,omitempty" protobuf:"varint,27,opt,name=x7" thrift:"27"`
+	X08  int64              `json:"x8,omitempty" protobuf:"varint,28,opt,name=x8" thrift:"28"`
+	X09  int64              `json:"x9,omitempty" protobuf:"varint,29,opt,name=x9" thrift:"29"`
+	X10  int64              `json:"x10,omitempty" protobuf:"varint,30,opt,name=x10" thrift:"30"`
+	X11  int64              `json:"x11,omitempty" protobuf:"varint,31,opt,name=x11" thrift:"31"`
+	X12  int64              `json:"x12,omitempty" protobuf:"varint,32,opt,name=x12" thrift:"32"`
+	X13  int64              `json:"x13,omitempty" protobuf:"varint,33,opt,name=x13" thrift:"33"`
+	X14  int64              `json:"x14,omitempty" protobuf:"varint,34,opt,name=x14" thrift:"34"`
+	X15  int64              `json:"x15,omitempty" protobuf:"varint,35,opt,name=x15" thrift:"35"`
+	X16  int64              `json:"x16,omitempty" protobuf:"varint,36,opt,name=x16" thrift:"36"`
+	X17  int64              `json:"x17,omitempty" protobuf:"varint,37,opt,name=x17" thrift:"37"`
+	X18  int64              `json:"x18,omitempty" protobuf:"varint,38,opt,name=x18" thrift:"38"`
+	X19  int64              `json:"x19,omitempty" protobuf:"varint,39,opt,name=x19" thrift:"39"`
+	X20  int64              `json:"x20,omitempty" protobuf:"varint,40,opt,name=x20" thrift:"40"`
+	X21  int64              `json:"x21,omitempty" protobuf:"varint,41,opt,name=x21" thrift:"41"`
+	X22  int64              `json:"x22,omitempty" protobuf:"varint,42,opt,name=x22" thrift:"42"`
+	X23  int64              `json:"x23,omitempty" protobuf:"varint,43,opt,name=x23" thrift:"43"`
 }
 
 type Peer050 struct {
@@ -719,11 +1994,36 @@ type Peer050 struct {
 }
 
 type Rec051 struct {
-	V    int64    `json:"v" protobuf:"varint,1,opt,name=v" thrift:"1"`
-	Next *Rec051  `json:"next,omitempty" protobuf:"bytes,2,opt,name=next" thrift:"2"`
-	Kids []Rec051 `json:"kids,omitempty" protobuf:"bytes,3,rep,name=kids" thrift:"3"`
-	Peer *Peer051 `json:"peer,omitempty" protobuf:"bytes,4,opt,name=peer" thrift:"4"`
-	S    string   `json:"s,omitempty" protobuf:"bytes,5,opt,name=s" thrift:"5"`
+	M    map[string]Peer051 `json:"m,omitempty" protobuf:"bytes,6,rep,name=m" protobuf_key:"bytes,1,opt,name=key" protobuf_val:"bytes,2,opt,name=value" thrift:"6"`
+	V    int64              `json:"v" protobuf:"varint,1,opt,name=v" thrift:"1"`
+	Next *Rec051            `json:"next,omitempty" protobuf:"bytes,2,opt,name=next" thrift:"2"`
+	Kids []Rec051           `json:"kids,omitempty" protobuf:"bytes,3,rep,name=kids" thrift:"3"`
+	Peer *Peer051           `json:"peer,omitempty" protobuf:"bytes,4,opt,name=peer" thrift:"4"`
+	S    string             `json:"s,omitempty" protobuf:"bytes,5,opt,name=s" thrift:"5"`
+	X00  int64              `json:"x0,omitempty" protobuf:"varint,20,opt,name=x0" thrift:"20"`
+	X01  int64              `json:"x1,omitempty" protobuf:"varint,21,opt,name=x1" thrift:"21"`
+	X02  int64              `json:"x2,omitempty" protobuf:"varint,22,opt,name=x2" thrift:"22"`
+	X03  int64              `json:"x3,omitempty" protobuf:"varint,23,opt,name=x3" thrift:"23"`
+	X04  int64              `json:"x4,omitempty" protobuf:"varint,24,opt,name=x4" thrift:"24"`
+	X05  int64              `json:"x5,omitempty" protobuf:"varint,25,opt,name=x5" thrift:"25"`
+	X06  int64              `json:"x6,omitempty" protobuf:"varint,26,opt,name=x6" thrift:"26"`
+	X07  int64              `json:"x7,omitempty" protobuf:"varint,27,opt,name=x7" thrift:"27"`
+	X08  int64              `json:"x8,omitempty" protobuf:"varint,28,opt,name=x8" thrift:"28"`
+	X09  int64              `json:"x9,omitempty" protobuf:"varint,29,opt,name=x9" thrift:"29"`
+	X10  int64              `json:"x10,omitempty" protobuf:"varint,30,opt,name=x10" thrift:"30"`
+	X11  int64              `json:"x11,omitempty" protobuf:"varint,31,opt,name=x11" thrift:"31"`
+	X12  int64              `json:"x12,omitempty" protobuf:"varint,32,opt,name=x12" thrift:"32"`
+	X13  int64              `json:"x13,omitempty" protobuf:"varint,33,opt,name=x13" thrift:"33"`
+	X14  int64              `json:"x14,omitempty" protobuf:"varint,34,opt,name=x14" thrift:"34"`
+	X15  int64              `json:"x15,omitempty" protobuf:"varint,35,opt,name=x15" thrift:"35"`
+	X16  int64              `json:"x16,omitempty" protobuf:"varint,36,opt,name=x16" thrift:"36"`
+	X17  int64              `json:"x17,omitempty" protobuf:"varint,37,opt,name=x17" thrift:"37"`
+	X18  int64              `json:"x18,omitempty" protobuf:"varint,38,opt,name=x18" thrift:"38"`
+	X19  int64              `json:"x19,omitempty" protobuf:"varint,39,opt,name=x19" thrift:"39"`
+	X20  int64              `json:"x20,omitempty" protobuf:"varint,40,opt,name=x20" thrift:"40"`
+	X21  int64              `json:"x21,omitempty" protobuf:"varint,41,opt,name=x21" thrift:"41"`
+	X22  int64              `json:"x22,omitempty" protobuf:"varint,42,opt,name=x22" thrift:"42"`
+	X23  int64              `json:"x23,omitempty" protobuf:"varint,43,opt,name=x23" thrift:"43"`
 }
 
 type Peer051 struct {
@@ -733,11 +2033,36 @@ type Peer051 struct {
 }
 
 type Rec052 struct {
-	V    int64    `json:"v" protobuf:"varint,1,opt,name=v" thrift:"1"`
-	Next *Rec052  `json:"next,omitempty" protobuf:"bytes,2,opt,name=next" thrift:"2"`
-	Kids []Rec052 `json:"kids,omitempty" protobuf:"bytes,3,rep,name=kids" thrift:"3"`
-	Peer *Peer052 `json:"peer,omitempty" protobuf:"bytes,4,opt,name=peer" thrift:"4"`
-	S    string   `json:"s,omitempty" protobuf:"bytes,5,opt,name=s" thrift:"5"`
+	M    map[string]Peer052 `json:"m,omitempty" protobuf:"bytes,6,rep,name=m" protobuf_key:"bytes,1,opt,name=key" protobuf_val:"bytes,2,opt,name=value" thrift:"6"`
+	V    int64              `json:"v" protobuf:"varint,1,opt,name=v" thrift:"1"`
+	Next *Rec052            `json:"next,omitempty" protobuf:"bytes,2,opt,name=next" thrift:"2"`
+	Kids []Rec052           `json:"kids,omitempty" protobuf:"bytes,3,rep,name=kids" thrift:"3"`
+	Peer *Peer052           `json:"peer,omitempty" protobuf:"bytes,4,opt,name=peer" thrift:"4"`
+	S    string             `json:"s,omitempty" protobuf:"bytes,5,opt,name=s" thrift:"5"`
+	X00  int64              `json:"x0,omitempty" protobuf:"varint,20,opt,name=x0" thrift:"20"`
+	X01  int64              `json:"x1,omitempty" protobuf:"varint,21,opt,name=x1" thrift:"21"`
+	X02  int64              `json:"x2,omitempty" protobuf:"varint,22,opt,name=x2" thrift:"22"`
+	X03  int64              `json:"x3,omitempty" protobuf:"varint,23,opt,name=x3" thrift:"23"`
+	X04  int64              `json:"x4,omitempty" protobuf:"varint,24,opt,name=x4" thrift:"24"`
+	X05  int64              `json:"x5,omitempty" protobuf:"varint,25,opt,name=x5" thrift:"25"`
+	X06  int64              `json:"x6,omitempty" protobuf:"varint,26,opt,name=x6" thrift:"26"`
+	X07  int64              `json:"x7,omitempty" protobuf:"varint,27,opt,name=x7" thrift:"27"`
+	X08  int64              `json:"x8,omitempty" protobuf:"varint,28,opt,name=x8" thrift:"28"`
+	X09  int64              `json:"x9,omitempty" protobuf:"varint,29,opt,name=x9" thrift:"29"`
+	X10  int64              `json:"x10,omitempty" protobuf:"varint,30,opt,name=x10" thrift:"30"`
+	X11  int64              `json:"x11,omitempty" protobuf:"varint,31,opt,name=x11" thrift:"31"`
+	X12  int64              `json:"x12,omitempty" protobuf:"varint,32,opt,name=x12" thrift:"32"`
+	X13  int64              `json:"x13,omitempty" protobuf:"varint,33,opt,name=x13" thrift:"33"`
+	X14  int64              `json:"x14,omitempty" protobuf:"varint,34,opt,name=x14" thrift:"34"`
+	X15  int64              `json:"x15,omitempty" protobuf:"varint,35,opt,name=x15" thrift:"35"`
+	X16  int64              `json:"x16,omitempty" protobuf:"varint,36,opt,name=x16" thrift:"36"`
+	X17  int64              `json:"x17,omitempty" protobuf:"varint,37,opt,name=x17" thrift:"37"`
+	X18  int64              `json:"x18,omitempty" protobuf:"varint,38,opt,name=x18" thrift:"38"`
+	X19  int64              `json:"x19,omitempty" protobuf:"varint,39,opt,name=x19" thrift:"39"`
+	X20  int64              `json:"x20,omitempty" protobuf:"varint,40,opt,name=x20" thrift:"40"`
+	X21  int64              `json:"x21,omitempty" protobuf:"varint,41,opt,name=x21" thrift:"41"`
+	X22  int64              `json:"x22,omitempty" protobuf:"varint,42,opt,name=x22" thrift:"42"`
+	X23  int64              `json:"x23,omitempty" protobuf:"varint,43,opt,name=x23" thrift:"43"`
 }
 
 type Peer052 struct {
@@ -747,11 +2072,36 @@ type Peer052 struct {
 }
 
 type Rec053 struct {
-	V    int64    `json:"v" protobuf:"varint,1,opt,name=v" thrift:"1"`
-	Next *Rec053  `json:"next,omitempty" protobuf:"bytes,2,opt,name=next" thrift:"2"`
-	Kids []Rec053 `json:"kids,omitempty" protobuf:"bytes,3,rep,name=kids" thrift:"3"`
-	Peer *Peer053 `json:"peer,omitempty" protobuf:"bytes,4,opt,name=peer" thrift:"4"`
-	S    string   `json:"s,omitempty" protobuf:"bytes,5,opt,name=s" thrift:"5"`
+	M    map[string]Peer053 `json:"m,omitempty" protobuf:"bytes,6,rep,name=m" protobuf_key:"bytes,1,opt,name=key" protobuf_val:"bytes,2,opt,name=value" thrift:"6"`
+	V    int64              `json:"v" protobuf:"varint,1,opt,name=v" thrift:"1"`
+	Next *Rec053            `json:"next,omitempty" protobuf:"bytes,2,opt,name=next" thrift:"2"`
+	Kids []Rec053           `json:"kids,omitempty" protobuf:"bytes,3,rep,name=kids" thrift:"3"`
+	Peer *Peer053           `json:"peer,omitempty" protobuf:"bytes,4,opt,name=peer" thrift:"4"`
+	S    string             `json:"s,omitempty" protobuf:"bytes,5,opt,name=s" thrift:"5"`
+	X00  int64              `json:"x0,omitempty" protobuf:"varint,20,opt,name=x0" thrift:"20"`
+	X01  int64              `json:"x1,omitempty" protobuf:"varint,21,opt,name=x1" thrift:"21"`
+	X02  int64              `json:"x2,omitempty" protobuf:"varint,22,opt,name=x2" thrift:"22"`
+	X03  int64              `json:"x3,omitempty" protobuf:"varint,23,opt,name=x3" thrift:"23"`
+	X04  int64              `json:"x4,omitempty" protobuf:"varint,24,opt,name=x4" thrift:"24"`
+	X05  int64              `json:"x5,omitempty" protobuf:"varint,25,opt,name=x5" thrift:"25"`
+	X06  int64              `json:"x6,omitempty" protobuf:"varint,26,opt,name=x6" thrift:"26"`
+	X07  int64              `json:"x7,omitempty" protobuf:"varint,27,opt,name=x7" thrift:"27"`
+	X08  int64              `json:"x8,omitempty" protobuf:"varint,28,opt,name=x8" thrift:"28"`
+	X09  int64              `json:"x9,omitempty" protobuf:"varint,29,opt,name=x9" thrift:"29"`
+	X10  int64              `json:"x10,omitempty" protobuf:"varint,30,opt,name=x10" thrift:"30"`
+	X11  int64              `json:"x11,omitempty" protobuf:"varint,31,opt,name=x11" thrift:"31"`
+	X12  int64              `json:"x12,omitempty" protobuf:"varint,32,opt,name=x12" thrift:"32"`
+	X13  int64              `json:"x13,omitempty" protobuf:"varint,33,opt,name=x13" thrift:"33"`
+	X14  int64              `json:"x14,omitempty" protobuf:"varint,34,opt,name=x14" thrift:"34"`
+	X15  int64              `json:"x15,omitempty" protobuf:"varint,35,opt,name=x15" thrift:"35"`
+	X16  int64              `json:"x16,omitempty" protobuf:"varint,36,opt,name=x16" thrift:"36"`
+	X17  int64              `json:"x17,omitempty" protobuf:"varint,37,opt,name=x17" thrift:"37"`
+	X18  int64              `json:"x18,omitempty" protobuf:"varint,38,opt,name=x18" thrift:"38"`
+	X19  int64              `json:"x19,omitempty" protobuf:"varint,39,opt,name=x19" thrift:"39"`
+	X20  int64              `json:"x20,omitempty" protobuf:"varint,40,opt,name=x20" thrift:"40"`
+	X21  int64              `json:"x21,omitempty" protobuf:"varint,41,opt,name=x21" thrift:"41"`
+	X22  int64              `json:"x22,omitempty" protobuf:"varint,42,opt,name=x22" thrift:"42"`
+	X23  int64              `json:"x23,omitempty" protobuf:"varint,43,opt,name=x23" thrift:"43"`
 }
 
 type Peer053 struct {
@@ -761,11 +2111,36 @@ type Peer053 struct {
 }
 
 type Rec054 struct {
-	V    int64    `json:"v" protobuf:"varint,1,opt,name=v" thrift:"1"`
-	Next *Rec054  `json:"next,omitempty" protobuf:"bytes,2,opt,name=next" thrift:"2"`
-	Kids []Rec054 `json:"kids,omitempty" protobuf:"bytes,3,rep,name=kids" thrift:"3"`
-	Peer *Peer054 `json:"peer,omitempty" protobuf:"bytes,4,opt,name=peer" thrift:"4"`
-	S    string   `json:"s,omitempty" protobuf:"bytes,5,opt,name=s" thrift:"5"`
+	M    map[string]Peer054 `json:"m,omitempty" protobuf:"bytes,6,rep,name=m" protobuf_key:"bytes,1,opt,name=key" protobuf_val:"bytes,2,opt,name=value" thrift:"6"`
+	V    int64              `json:"v" protobuf:"varint,1,opt,name=v" thrift:"1"`
+	Next *Rec054            `json:"next,omitempty" protobuf:"bytes,2,opt,name=next" thrift:"2"`
+	Kids []Rec054           `json:"kids,omitempty" protobuf:"bytes,3,rep,name=kids" thrift:"3"`
+	Peer *Peer054           `json:"peer,omitempty" protobuf:"bytes,4,opt,name=peer" thrift:"4"`
+	S    string             `json:"s,omitempty" protobuf:"bytes,5,opt,name=s" thrift:"5"`
+	X00  int64              `json:"x0,omitempty" protobuf:"varint,20,opt,name=x0" thrift:"20"`
+	X01  int64              `json:"x1,omitempty" protobuf:"varint,21,opt,name=x1" thrift:"21"`
+	X02  int64              `json:"x2,omitempty" protobuf:"varint,22,opt,name=x2" thrift:"22"`
+	X03  int64              `json:"x3,omitempty" protobuf:"varint,23,opt,name=x3" thrift:"23"`
+	X04  int64              `json:"x4,omitempty" protobuf:"varint,24,opt,name=x4" thrift:"24"`
+	X05  int64              `json:"x5,omitempty" protobuf:"varint,25,opt,name=x5" thrift:"25"`
+	X06  int64              `json:"x6,omitempty" protobuf:"varint,26,opt,name=x6" thrift:"26"`
+	X07  int64              `json:"x7,omitempty" protobuf:"varint,27,opt,name=x7" thrift:"27"`
+	X08  int64              `json:"x8,omitempty" protobuf:"varint,28,opt,name=x8" thrift:"28"`
+	X09  int64              `json:"x9,omitempty" protobuf:"varint,29,opt,name=x9" thrift:"29"`
+	X10  int64              `json:"x10,omitempty" protobuf:"varint,30,opt,name=x10" thrift:"30"`
+	X11  int64              `json:"x11,omitempty" protobuf:"varint,31,opt,name=x11" thrift:"31"`
+	X12  int64              `json:"x12,omitempty" protobuf:"varint,32,opt,name=x12" thrift:"32"`
+	X13  int64              `json:"x13,omitempty" protobuf:"varint,33,opt,name=x13" thrift:"33"`
+	X14  int64              `json:"x14,omitempty" protobuf:"varint,34,opt,name=x14" thrift:"34"`
+	X15  int64              `json:"x15,omitempty" protobuf:"varint,35,opt,name=x15" thrift:"35"`
+	X16  int64              `json:"x16,omitempty" protobuf:"varint,36,opt,name=x16" thrift:"36"`
+	X17  int64              `json:"x17,omitempty" protobuf:"varint,37,opt,name=x17" thrift:"37"`
+	X18  int64              `json:"x18,omitempty" protobuf:"varint,38,opt,name=x18" thrift:"38"`
+	X19  int64              `json:"x19,omitempty" protobuf:"varint,39,opt,name=x19" thrift:"39"`
+	X20  int64              `json:"x20,omitempty" protobuf:"varint,40,opt,name=x20" thrift:"40"`
+	X21  int64              `json:"x21,omitempty" protobuf:"varint,41,opt,name=x21" thrift:"41"`
+	X22  int64              `json:"x22,omitempty" protobuf:"varint,42,opt,name=x22" thrift:"42"`
+	X23  int64              `json:"x23,omitempty" protobuf:"varint,43,opt,name=x23" thrift:"43"`
 }
 
 type Peer054 struct {
@@ -775,11 +2150,36 @@ type Peer054 struct {
 }
 
 type Rec055 struct {
-	V    int64    `json:"v" protobuf:"varint,1,opt,name=v" thrift:"1"`
-	Next *Rec055  `json:"next,omitempty" protobuf:"bytes,2,opt,name=next" thrift:"2"`
-	Kids []Rec055 `json:"kids,omitempty" protobuf:"bytes,3,rep,name=kids" thrift:"3"`
-	Peer *Peer055 `json:"peer,omitempty" protobuf:"bytes,4,opt,name=peer" thrift:"4"`
-	S    string   `json:"s,omitempty" protobuf:"bytes,5,opt,name=s" thrift:"5"`
+	M    map[string]Peer055 `json:"m,omitempty" protobuf:"bytes,6,rep,name=m" protobuf_key:"bytes,1,opt,name=key" protobuf_val:"bytes,2,opt,name=value" thrift:"6"`
+	V    int64              `json:"v" protobuf:"varint,1,opt,name=v" thrift:"1"`
+	Next *Rec055            `json:"next,omitempty" protobuf:"bytes,2,opt,name=next" thrift:"2"`
+	Kids []Rec055           `json:"kids,omitempty" protobuf:"bytes,3,rep,name=kids" thrift:"3"`
+	Peer *Peer055           `json:"peer,omitempty" protobuf:"bytes,4,opt,name=peer" thrift:"4"`
+	S    string             `json:"s,omitempty" protobuf:"bytes,5,opt,name=s" thrift:"5"`
+	X00  int64              `json:"x0,omitempty" protobuf:"varint,20,opt,name=x0" thrift:"20"`
+	X01  int64              `json:"x1,omitempty" protobuf:"varint,21,opt,name=x1" thrift:"21"`
+	X02  int64              `json:"x2,omitempty" protobuf:"varint,22,opt,name=x2" thrift:"22"`
+	X03  int64              `json:"x3,omitempty" protobuf:"varint,23,opt,name=x3" thrift:"23"`
+	X04  int64              `json:"x4,omitempty" protobuf:"varint,24,opt,name=x4" thrift:"24"`
+	X05  int64              `json:"x5,omitempty" protobuf:"varint,25,opt,name=x5" thrift:"25"`
+	X06  int64              `json:"x6,omitempty" protobuf:"varint,26,opt,name=x6" thrift:"26"`
+	X07  int64              `json:"x7,omitempty" protobuf:"varint,27,opt,name=x7" thrift:"27"`
+	X08  int64              `json:"x8,omitempty" protobuf:"varint,28,opt,name=x8" thrift:"28"`
+	X09  int64              `json:"x9,omitempty" protobuf:"varint,29,opt,name=x9" thrift:"29"`
+	X10  int64              `json:"x10,omitempty" protobuf:"varint,30,opt,name=x10" thrift:"30"`
+	X11  int64              `json:"x11,omitempty" protobuf:"varint,31,opt,name=x11" thrift:"31"`
+	X12  int64              `json:"x12,omitempty" protobuf:"varint,32,opt,name=x12" thrift:"32"`
+	X13  int64              `json:"x13,omitempty" protobuf:"varint,33,opt,name=x13" thrift:"33"`
+	X14  int64              `json:"x14,omitempty" protobuf:"varint,34,opt,name=x14" thrift:"34"`
+	X15  int64              `json:"x15,omitempty" protobuf:"varint,35,opt,name=x15" thrift:"35"`
+	X16  int64              `json:"x16,omitempty" protobuf:"varint,36,opt,name=x16" thrift:"36"`
+	X17  int64              `json:"x17,omitempty" protobuf:"varint,37,opt,name=x17" thrift:"37"`
+	X18  int64              `json:"x18,omitempty" protobuf:"varint,38,opt,name=x18" thrift:"38"`
+	X19  int64              `json:"x19,omitempty" protobuf:"varint,39,opt,name=x19" thrift:"39"`
+	X20  int64              `json:"x20,omitempty" protobuf:"varint,40,opt,name=x20" thrift:"40"`
+	X21  int64              `json:"x21,omitempty" protobuf:"varint,41,opt,name=x21" thrift:"41"`
+	X22  int64              `json:"x22,omitempty" protobuf:"varint,42,opt,name=x22" thrift:"42"`
+	X23  int64              `json:"x23,omitempty" protobuf:"varint,43,opt,name=x23" thrift:"43"`
 }
 
 type Peer055 struct {
@@ -789,11 +2189,36 @@ type Peer055 struct {
 }
 
 type Rec056 struct {
-	V    int64    `json:"v" protobuf:"varint,1,opt,name=v" thrift:"1"`
-	Next *Rec056  `json:"next,omitempty" protobuf:"bytes,2,opt,name=next" thrift:"2"`
-	Kids []Rec056 `json:"kids,omitempty" protobuf:"bytes,3,rep,name=kids" thrift:"3"`
-	Peer *Peer056 `json:"peer,omitempty" protobuf:"bytes,4,opt,name=peer" thrift:"4"`
-	S    string   `json:"s,omitempty" protobuf:"bytes,5,opt,name=s" thrift:"5"`
+	M    map[string]Peer056 `json:"m,omitempty" protobuf:"bytes,6,rep,name=m" protobuf_key:"bytes,1,opt,name=key" protobuf_val:"bytes,2,opt,name=value" thrift:"6"`
+	V    int64              `json:"v" protobuf:"varint,1,opt,name=v" thrift:"1"`
+	Next *Rec056            `json:"next,omitempty" protobuf:"bytes,2,opt,name=next" thrift:"2"`
+	Kids []Rec056           `json:"kids,omitempty" protobuf:"bytes,3,rep,name=kids" thrift:"3"`
+	Peer *Peer056           `json:"peer,omitempty" protobuf:"bytes,4,opt,name=peer" thrift:"4"`
+	S    string             `json:"s,omitempty" protobuf:"bytes,5,opt,name=s" thrift:"5"`
+	X00  int64              `json:"x0,omitempty" protobuf:"varint,20,opt,name=x0" thrift:"20"`
+	X01  int64              `json:"x1,omitempty" protobuf:"varint,21,opt,name=x1" thrift:"21"`
+	X02  int64              `json:"x2,omitempty" protobuf:"varint,22,opt,name=x2" thrift:"22"`
+	X03  int64              `json:"x3,omitempty" protobuf:"varint,23,opt,name=x3" thrift:"23"`
+	X04  int64              `json:"x4,omitempty" protobuf:"varint,24,opt,name=x4" thrift:"24"`
+	X05  int64              `json:"x5,omitempty" protobuf:"varint,25,opt,name=x5" thrift:"25"`
+	X06  int64              `json:"x6,omitempty" protobuf:"varint,26,opt,name=x6" thrift:"26"`
+	X07  int64              `json:"x7,omitempty" protobuf:"varint,27,opt,name=x7" thrift:"27"`
+	X08  int64              `json:"x8,omitempty" protobuf:"varint,28,opt,name=x8" thrift:"28"`
+	X09  int64              `json:"x9,omitempty" protobuf:"varint,29,opt,name=x9" thrift:"29"`
+	X10  int64              `json:"x10,omitempty" protobuf:"varint,30,opt,name=x10" thrift:"30"`
+	X11  int64              `json:"x11,omitempty" protobuf:"varint,31,opt,name=x11" thrift:"31"`
+	X12  int64              `json:"x12,omitempty" protobuf:"varint,32,opt,name=x12" thrift:"32"`
+	X13  int64              `json:"x13,omitempty" protobuf:"varint,33,opt,name=x13" thrift:"33"`
+	X14  int64              `json:"x14,omitempty" protobuf:"varint,34,opt,name=x14" thrift:"34"`
+	X15  int64              `json:"x15,omitempty" protobuf:"varint,35,opt,name=x15" thrift:"35"`
+	X16  int64              `json:"x16,omitempty" protobuf:"varint,36,opt,name=x16" thrift:"36"`
+	X17  int64              `json:"x17,omitempty" protobuf:"varint,37,opt,name=x17" thrift:"37"`
+	X18  int64              `json:"x18,omitempty" protobuf:"varint,38,opt,name=x18" thrift:"38"`
+	X19  int64              `json:"x19,omitempty" protobuf:"varint,39,opt,name=x19" thrift:"39"`
+	X20  int64              `json:"x20,omitempty" protobuf:"varint,40,opt,name=x20" thrift:"40"`
+	X21  int64              `json:"x21,omitempty" protobuf:"varint,41,opt,name=x21" thrift:"41"`
+	X22  int64              `json:"x22,omitempty" protobuf:"varint,42,opt,name=x22" thrift:"42"`
+	X23  int64              `json:"x23,omitempty" protobuf:"varint,43,opt,name=x23" thrift:"43"`
 }
 
 type Peer056 struct {
@@ -803,11 +2228,36 @@ type Peer056 struct {
 }
 
 type Rec057 struct {
-	V    int64    `json:"v" protobuf:"varint,1,opt,name=v" thrift:"1"`
-	Next *Rec057  `json:"next,omitempty" protobuf:"bytes,2,opt,name=next" thrift:"2"`
-	Kids []Rec057 `json:"kids,omitempty" protobuf:"bytes,3,rep,name=kids" thrift:"3"`
-	Peer *Peer057 `json:"peer,omitempty" protobuf:"bytes,4,opt,name=peer" thrift:"4"`
-	S    string   `json:"s,omitempty" protobuf:"bytes,5,opt,name=s" thrift:"5"`
+	M    map[string]Peer057 `json:"m,omitempty" protobuf:"bytes,6,rep,name=m" protobuf_key:"bytes,1,opt,name=key" protobuf_val:"bytes,2,opt,name=value" thrift:"6"`
+	V    int64              `json:"v" protobuf:"varint,1,opt,name=v" thrift:"1"`
+	Next *Rec057            `json:"next,omitempty" protobuf:"bytes,2,opt,name=next" thrift:"2"`
+	Kids []Rec057           `json:"kids,omitempty" protobuf:"bytes,3,rep,name=kids" thrift:"3"`
+	Peer *Peer057           `json:"peer,omitempty" protobuf:"bytes,4,opt,name=peer" thrift:"4"`
+	S    string             `json:"s,omitempty" protobuf:"bytes,5,opt,name=s" thrift:"5"`
+	X00  int64              `json:"x0,omitempty" protobuf:"varint,20,opt,name=x0" thrift:"20"`
+	X01  int64              `json:"x1,omitempty" protobuf:"varint,21,opt,name=x1" thrift:"21"`
+	X02  int64              `json:"x2,omitempty" protobuf:"varint,22,opt,name=x2" thrift:"22"`
+	X03  int64              `json:"x3,omitempty" protobuf:"varint,23,opt,name=x3" thrift:"23"`
+	X04  int64              `json:"x4,omitempty" protobuf:"varint,24,opt,name=x4" thrift:"24"`
+	X05  int64              `json:"x5,omitempty" protobuf:"varint,25,opt,name=x5" thrift:"25"`
+	X06  int64              `json:"x6,omitempty" protobuf:"varint,26,opt,name=x6" thrift:"26"`
+	X07  int64              `json:"x7,omitempty" protobuf:"varint,27,opt,name=x7" thrift:"27"`
+	X08  int64              `json:"x8,omitempty" protobuf:"varint,28,opt,name=x8" thrift:"28"`
+	X09  int64              `json:"x9,omitempty" protobuf:"varint,29,opt,name=x9" thrift:"29"`
+	X10  int64              `json:"x10,omitempty" protobuf:"varint,30,opt,name=x10" thrift:"30"`
+	X11  int64              `json:"x11,omitempty" protobuf:"varint,31,opt,name=x11" thrift:"31"`
+	X12  int64              `json:"x12,omitempty" protobuf:"varint,32,opt,name=x12" thrift:"32"`
+	X13  int64              `json:"x13,omitempty" protobuf:"varint,33,opt,name=x13" thrift:"33"`
+	X14  int64              `json:"x14,omitempty" protobuf:"varint,34,opt,name=x14" thrift:"34"`
+	X15  int64              `json:"x15,omitempty" protobuf:"varint,35,opt,name=x15" thrift:"35"`
+	X16  int64              `json:"x16,omitempty" protobuf:"varint,36,opt,name=x16" thrift:"36"`
+	X17  int64              `json:"x17,omitempty" protobuf:"varint,37,opt,name=x17" thrift:"37"`
+	X18  int64              `json:"x18,omitempty" protobuf:"varint,38,opt,name=x18" thrift:"38"`
+	X19  int64              `json:"x19,omitempty" protobuf:"varint,39,opt,name=x19" thrift:"39"`
+	X20  int64              `json:"x20,omitempty" protobuf:"varint,40,opt,name=x20" thrift:"40"`
+	X21  int64              `json:"x21,omitempty" protobuf:"varint,41,opt,name=x21" thrift:"41"`
+	X22  int64              `json:"x22,omitempty" protobuf:"varint,42,opt,name=x22" thrift:"42"`
+	X23  int64              `json:"x23,omitempty" protobuf:"varint,43,opt,name=x23" thrift:"43"`
 }
 
 type Peer057 struct {
@@ -817,11 +2267,36 @@ type Peer057 struct {
 }
 
 type Rec058 struct {
-	V    int64    `json:"v" protobuf:"varint,1,opt,name=v" thrift:"1"`
-	Next *Rec058  `json:"next,omitempty" protobuf:"bytes,2,opt,name=next" thrift:"2"`
-	Kids []Rec058 `json:"kids,omitempty" protobuf:"bytes,3,rep,name=kids" thrift:"3"`
-	Peer *Peer058 `json:"peer,omitempty" protobuf:"bytes,4,opt,name=peer" thrift:"4"`
-	S    string   `json:"s,omitempty" protobuf:"bytes,5,opt,name=s" thrift:"5"`
+	M    map[string]Peer058 `json:"m,omitempty" protobuf:"bytes,6,rep,name=m" protobuf_key:"bytes,1,opt,name=key" protobuf_val:"bytes,2,opt,name=value" thrift:"6"`
+	V    int64              `json:"v" protobuf:"varint,1,opt,name=v" thrift:"1"`
+	Next *Rec058            `json:"next,omitempty" protobuf:"bytes,2,opt,name=next" thrift:"2"`
+	Kids []Rec058           `json:"kids,omitempty" protobuf:"bytes,3,rep,name=kids" thrift:"3"`
+	Peer *Peer058           `json:"peer,omitempty" protobuf:"bytes,4,opt,name=peer" thrift:"4"`
+	S    string             `json:"s,omitempty" protobuf:"bytes,5,opt,name=s" thrift:"5"`
+	X00  int64              `json:"x0,omitempty" protobuf:"varint,20,opt,name=x0" thrift:"20"`
+	X01  int64              `json:"x1,omitempty" protobuf:"varint,21,opt,name=x1" thrift:"21"`
+	X02  int64              `json:"x2,omitempty" protobuf:"varint,22,opt,name=x2" thrift:"22"`
+	X03  int64              `json:"x3,omitempty" protobuf:"varint,23,opt,name=x3" thrift:"23"`
+	X04  int64              `json:"x4,omitempty" protobuf:"varint,24,opt,name=x4" thrift:"24"`
+	X05  int64              `json:"x5,omitempty" protobuf:"varint,25,opt,name=x5" thrift:"25"`
+	X06  int64              `json:"x6,omitempty" protobuf:"varint,26,opt,name=x6" thrift:"26"`
+	X07  int64              `json:"x7,omitempty" protobuf:"varint,27,opt,name=x7" thrift:"27"`
+	X08  int64              `json:"x8,omitempty" protobuf:"varint,28,opt,name=x8" thrift:"28"`
+	X09  int64              `json:"x9,omitempty" protobuf:"varint,29,opt,name=x9" thrift:"29"`
+	X10  int64              `json:"x10,omitempty" protobuf:"varint,30,opt,name=x10" thrift:"30"`
+	X11  int64              `json:"x11,omitempty" protobuf:"varint,31,opt,name=x11" thrift:"31"`
+	X12  int64              `json:"x12,omitempty" protobuf:"varint,32,opt,name=x12" thrift:"32"`
+	X13  int64              `json:"x13,omitempty" protobuf:"varint,33,opt,name=x13" thrift:"33"`
+	X14  int64              `json:"x14,omitempty" protobuf:"varint,34,opt,name=x14" thrift:"34"`
+	X15  int64              `json:"x15,omitempty" protobuf:"varint,35,opt,name=x15" thrift:"35"`
+	X16  int64              `json:"x16,omitempty" protobuf:"varint,36,opt,name=x16" thrift:"36"`
+	X17  int64              `json:"x17,omitempty" protobuf:"varint,37,opt,name=x17" thrift:"37"`
+	X18  int64              `json:"x18,omitempty" protobuf:"varint,38,opt,name=x18" thrift:"38"`
+	X19  int64              `json:"x19,omitempty" protobuf:"varint,39,opt,name=x19" thrift:"39"`
+	X20  int64              `json:"x20,omitempty" protobuf:"varint,40,opt,name=x20" thrift:"40"`
+	X21  int64              `json:"x21,omitempty" protobuf:"varint,41,opt,name=x21" thrift:"41"`
+	X22  int64              `json:"x22,omitempty" protobuf:"varint,42,opt,name=x22" thrift:"42"`
+	X23  int64              `json:"x23,omitempty" protobuf:"varint,43,opt,name=x23" thrift:"43"`
 }
 
 type Peer058 struct {
@@ -831,11 +2306,36 @@ type Peer058 struct {
 }
 
 type Rec059 struct {
-	V    int64    `json:"v" protobuf:"varint,1,opt,name=v" thrift:"1"`
-	Next *Rec059  `json:"next,omitempty" protobuf:"bytes,2,opt,name=next" thrift:"2"`
-	Kids []Rec059 `json:"kids,omitempty" protobuf:"bytes,3,rep,name=kids" thrift:"3"`
-	Peer *Peer059 `json:"peer,omitempty" protobuf:"bytes,4,opt,name=peer" thrift:"4"`
-	S    string   `json:"s,omitempty" protobuf:"bytes,5,opt,name=s" thrift:"5"`
+	M    map[string]Peer059 `json:"m,omitempty" protobuf:"bytes,6,rep,name=m" protobuf_key:"bytes,1,opt,name=key" protobuf_val:"bytes,2,opt,name=value" thrift:"6"`
+	V    int64              `json:"v" protobuf:"varint,1,opt,name=v" thrift:"1"`
+	Next *Rec059            `json:"next,omitempty" protobuf:"bytes,2,opt,name=next" thrift:"2"`
+	Kids []Rec059           `json:"kids,omitempty" protobuf:"bytes,3,rep,name=kids" thrift:"3"`
+	Peer *Peer059           `json:"peer,omitempty" protobuf:"bytes,4,opt,name=peer" thrift:"4"`
+	S    string             `json:"s,omitempty" protobuf:"bytes,5,opt,name=s" thrift:"5"`
+	X00  int64              `json:"x0,omitempty" protobuf:"varint,20,opt,name=x0" thrift:"20"`
+	X01  int64              `json:"x1,omitempty" protobuf:"varint,21,opt,name=x1" thrift:"21"`
+	X02  int64              `json:"x2,omitempty" protobuf:"varint,22,opt,name=x2" thrift:"22"`
+	X03  int64              `json:"x3,omitempty" protobuf:"varint,23,opt,name=x3" thrift:"23"`
+	X04  int64              `json:"x4,omitempty" protobuf:"varint,24,opt,name=x4" thrift:"24"`
+	X05  int64              `json:"x5,omitempty" protobuf:"varint,25,opt,name=x5" thrift:"25"`
+	X06  int64              `json:"x6,omitempty" protobuf:"varint,26,opt,name=x6" thrift:"26"`
+	X07  int64              `json:"x7,omitempty" protobuf:"varint,27,opt,name=x7" thrift:"27"`
+	X08  int64              `json:"x8,omitempty" protobuf:"varint,28,opt,name=x8" thrift:"28"`
+	X09  int64              `json:"x9,omitempty" protobuf:"varint,29,opt,name=x9" thrift:"29"`
+	X10  int64              `json:"x10,omitempty" protobuf:"varint,30,opt,name=x10" thrift:"30"`
+	X11  int64              `json:"x11,omitempty" protobuf:"varint,31,opt,name=x11" thrift:"31"`
+	X12  int64              `json:"x12,omitempty" protobuf:"varint,32,opt,name=x12" thrift:"32"`
+	X13  int64              `json:"x13,omitempty" protobuf:"varint,33,opt,name=x13" thrift:"33"`
+	X14  int64              `json:"x14,omitempty" protobuf:"varint,34,opt,name=x14" thrift:"34"`
+	X15  int64              `json:"x15,omitempty" protobuf:"varint,35,opt,name=x15" thrift:"35"`
+	X16  int64              `json:"x16,omitempty" protobuf:"varint,36,opt,name=x16" thrift:"36"`
+	X17  int64              `json:"x17,omitempty" protobuf:"varint,37,opt,name=x17" thrift:"37"`
+	X18  int64              `json:"x18,omitempty" protobuf:"varint,38,opt,name=x18" thrift:"38"`
+	X19  int64              `json:"x19,omitempty" protobuf:"varint,39,opt,name=x19" thrift:"39"`
+	X20  int64              `json:"x20,omitempty" protobuf:"varint,40,opt,name=x20" thrift:"40"`
+	X21  int64              `json:"x21,omitempty" protobuf:"varint,41,opt,name=x21" thrift:"41"`
+	X22  int64              `json:"x22,omitempty" protobuf:"varint,42,opt,name=x22" thrift:"42"`
+	X23  int64              `json:"x23,omitempty" protobuf:"varint,43,opt,name=x23" thrift:"43"`
 }
 
 type Peer059 struct {
@@ -845,11 +2345,36 @@ type Peer059 struct {
 }
 
 type Rec060 struct {
-	V    int64    `json:"v" protobuf:"varint,1,opt,name=v" thrift:"1"`
-	Next *Rec060  `json:"next,omitempty" protobuf:"bytes,2,opt,name=next" thrift:"2"`
-	Kids []Rec060 `json:"kids,omitempty" protobuf:"bytes,3,rep,name=kids" thrift:"3"`
-	Peer *Peer060 `json:"peer,omitempty" protobuf:"bytes,4,opt,name=peer" thrift:"4"`
-	S    string   `json:"s,omitempty" protobuf:"bytes,5,opt,name=s" thrift:"5"`
+	M    map[string]Peer060 `json:"m,omitempty" protobuf:"bytes,6,rep,name=m" protobuf_key:"bytes,1,opt,name=key" protobuf_val:"bytes,2,opt,name=value" thrift:"6"`
+	V    int64              `json:"v" protobuf:"varint,1,opt,name=v" thrift:"1"`
+	Next *Rec060            `json:"next,omitempty" protobuf:"bytes,2,opt,name=next" thrift:"2"`
+	Kids []Rec060           `json:"kids,omitempty" protobuf:"bytes,3,rep,name=kids" thrift:"3"`
+	Peer *Peer060           `json:"peer,omitempty" protobuf:"bytes,4,opt,name=peer" thrift:"4"`
+	S    string             `json:"s,omitempty" protobuf:"bytes,5,opt,name=s" thrift:"5"`
+	X00  int64              `json:"x0,omitempty" protobuf:"varint,20,opt,name=x0" thrift:"20"`
+	X01  int64              `json:"x1,omitempty" protobuf:"varint,21,opt,name=x1" thrift:"21"`
+	X02  int64              `json:"x2,omitempty" protobuf:"varint,22,opt,name=x2" thrift:"22"`
+	X03  int64              `json:"x3,omitempty" protobuf:"varint,23,opt,name=x3" thrift:"23"`
+	X04  int64              `json:"x4,omitempty" protobuf:"varint,24,opt,name=x4" thrift:"24"`
+	X05  int64              `json:"x5,omitempty" protobuf:"varint,25,opt,name=x5" thrift:"25"`
+	X06  int64              `json:"x6,omitempty" protobuf:"varint,26,opt,name=x6" thrift:"26"`
+	X07  int64              `json:"x7,omitempty" protobuf:"varint,27,opt,name=x7" thrift:"27"`
+	X08  int64              `json:"x8,omitempty" protobuf:"varint,28,opt,name=x8" thrift:"28"`
+	X09  int64              `json:"x9,omitempty" protobuf:"varint,29,opt,name=x9" thrift:"29"`
+	X10  int64              `json:"x10,omitempty" protobuf:"varint,30,opt,name=x10" thrift:"30"`
+	X11  int64              `json:"x11,omitempty" protobuf:"varint,31,opt,name=x11" thrift:"31"`
+	X12  int64              `json:"x12,omitempty" protobuf:"varint,32,opt,name=x12" thrift:"32"`
+	X13  int64              `json:"x13,omitempty" protobuf:"varint,33,opt,name=x13" thrift:"33"`
+	X14  int64              `json:"x14,omitempty" protobuf:"varint,34,opt,name=x14" thrift:"34"`
+	X15  int64              `json:"x15,omitempty" protobuf:"varint,35,opt,name=x15" thrift:"35"`
+	X16  int64              `json:"x16,omitempty" protobuf:"varint,36,opt,name=x16" thrift:"36"`
+	X17  int64              `json:"x17,omitempty" protobuf:"varint,37,opt,name=x17" thrift:"37"`
+	X18  int64              `json:"x18,omitempty" protobuf:"varint,38,opt,name=x18" thrift:"38"`
+	X19  int64              `json:"x19,omitempty" protobuf:"varint,39,opt,name=x19" thrift:"39"`
+	X20  int64              `json:"x20,omitempty" protobuf:"varint,40,opt,name=x20" thrift:"40"`
+	X21  int64              `json:"x21,omitempty" protobuf:"varint,41,opt,name=x21" thrift:"41"`
+	X22  int64              `json:"x22,omitempty" protobuf:"varint,42,opt,name=x22" thrift:"42"`
+	X23  int64              `json:"x23,omitempty" protobuf:"varint,43,opt,name=x23" thrift:"43"`
 }
 
 type Peer060 struct {
@@ -859,11 +2384,36 @@ type Peer060 struct {
 }
 
 type Rec061 struct {
-	V    int64    `json:"v" protobuf:"varint,1,opt,name=v" thrift:"1"`
-	Next *Rec061  `json:"next,omitempty" protobuf:"bytes,2,opt,name=next" thrift:"2"`
-	Kids []Rec061 `json:"kids,omitempty" protobuf:"bytes,3,rep,name=kids" thrift:"3"`
-	Peer *Peer061 `json:"peer,omitempty" protobuf:"bytes,4,opt,name=peer" thrift:"4"`
-	S    string   `json:"s,omitempty" protobuf:"bytes,5,opt,name=s" thrift:"5"`
+	M    map[string]Peer061 `json:"m,omitempty" protobuf:"bytes,6,rep,name=m" protobuf_key:"bytes,1,opt,name=key" protobuf_val:"bytes,2,opt,name=value" thrift:"6"`
+	V    int64              `json:"v" protobuf:"varint,1,opt,name=v" thrift:"1"`
+	Next *Rec061            `json:"next,omitempty" protobuf:"bytes,2,opt,name=next" thrift:"2"`
+	Kids []Rec061           `json:"kids,omitempty" protobuf:"bytes,3,rep,name=kids" thrift:"3"`
+	Peer *Peer061           `json:"peer,omitempty" protobuf:"bytes,4,opt,name=peer" thrift:"4"`
+	S    string             `json:"s,omitempty" protobuf:"bytes,5,opt,name=s" thrift:"5"`
+	X00  int64              `json:"x0,omitempty" protobuf:"varint,20,opt,name=x0" thrift:"20"`
+	X01  int64              `json:"x1,omitempty" protobuf:"varint,21,opt,name=x1" thrift:"21"`
+	X02  int64              `json:"x2,omitempty" protobuf:"varint,22,opt,name=x2" thrift:"22"`
+	X03  int64              `json:"x3,omitempty" protobuf:"varint,23,opt,name=x3" thrift:"23"`
+	X04  int64              `json:"x4,omitempty" protobuf:"varint,24,opt,name=x4" thrift:"24"`
+	X05  int64              `json:"x5,omitempty" protobuf:"varint,25,opt,name=x5" thrift:"25"`
+	X06  int64              `json:"x6,omitempty" protobuf:"varint,26,opt,name=x6" thrift:"26"`
+	X07  int64              `json:"x7,omitempty" protobuf:"varint,27,opt,name=x7" thrift:"27"`
+	X08  int64              `json:"x8,omitempty" protobuf:"varint,28,opt,name=x8" thrift:"28"`
+	X09  int64              `json:"x9,omitempty" protobuf:"varint,29,opt,name=x9" thrift:"29"`
+	X10  int64              `json:"x10,omitempty" protobuf:"varint,30,opt,name=x10" thrift:"30"`
+	X11  int64              `json:"x11,omitempty" protobuf:"varint,31,opt,name=x11" thrift:"31"`
+	X12  int64              `json:"x12,omitempty" protobuf:"varint,32,opt,name=x12" thrift:"32"`
+	X13  int64              `json:"x13,omitempty" protobuf:"varint,33,opt,name=x13" thrift:"33"`
+	X14  int64              `json:"x14,omitempty" protobuf:"varint,34,opt,name=x14" thrift:"34"`
+	X15  int64              `json:"x15,omitempty" protobuf:"varint,35,opt,name=x15" thrift:"35"`
+	X16  int64              `json:"x16,omitempty" protobuf:"varint,36,opt,name=x16" thrift:"36"`
+	X17  int64              `json:"x17,omitempty" protobuf:"varint,37,opt,name=x17" thrift:"37"`
+	X18  int64              `json:"x18,omitempty" protobuf:"varint,38,opt,name=x18" thrift:"38"`
+	X19  int64              `json:"x19,omitempty" protobuf:"varint,39,opt,name=x19" thrift:"39"`
+	X20  int64              `json:"x20,omitempty" protobuf:"varint,40,opt,name=x20" thrift:"40"`
+	X21  int64              `json:"x21,omitempty" protobuf:"varint,41,opt,name=x21" thrift:"41"`
+	X22  int64              `json:"x22,omitempty" protobuf:"varint,42,opt,name=x22" thrift:"42"`
+	X23  int64              `json:"x23,omitempty" protobuf:"varint,43,opt,name=x23" thrift:"43"`
 }
 
 type Peer061 struct {
@@ -873,11 +2423,36 @@ type Peer061 struct {
 }
 
 type Rec062 struct {
-	V    int64    `json:"v" protobuf:"varint,1,opt,name=v" thrift:"1"`
-	Next *Rec062  `json:"next,omitempty" protobuf:"bytes,2,opt,name=next" thrift:"2"`
-	Kids []Rec062 `json:"kids,omitempty" protobuf:"bytes,3,rep,name=kids" thrift:"3"`
-	Peer *Peer062 `json:"peer,omitempty" protobuf:"bytes,4,opt,name=peer" thrift:"4"`
-	S    string   `json:"s,omitempty" protobuf:"bytes,5,opt,name=s" thrift:"5"`
+	M    map[string]Peer062 `json:"m,omitempty" protobuf:"bytes,6,rep,name=m" protobuf_key:"bytes,1,opt,name=key" protobuf_val:"bytes,2,opt,name=value" thrift:"6"`
+	V    int64              `json:"v" protobuf:"varint,1,opt,name=v" thrift:"1"`
+	Next *Rec062            `json:"next,omitempty" protobuf:"bytes,2,opt,name=next" thrift:"2"`
+	Kids []Rec062           `json:"kids,omitempty" protobuf:"bytes,3,rep,name=kids" thrift:"3"`
+	Peer *Peer062           `json:"peer,omitempty" protobuf:"bytes,4,opt,name=peer" thrift:"4"`
+	S    string             `json:"s,omitempty" protobuf:"bytes,5,opt,name=s" thrift:"5"`
+	X00  int64              `json:"x0,omitempty" protobuf:"varint,20,opt,name=x0" thrift:"20"`
+	X01  int64              `json:"x1,omitempty" protobuf:"varint,21,opt,name=x1" thrift:"21"`
+	X02  int64              `json:"x2,omitempty" protobuf:"varint,22,opt,name=x2" thrift:"22"`
+	X03  int64              `json:"x3,omitempty" protobuf:"varint,23,opt,name=x3" thrift:"23"`
+	X04  int64              `json:"x4,omitempty" protobuf:"varint,24,opt,name=x4" thrift:"24"`
+	X05  int64              `json:"x5,omitempty" protobuf:"varint,25,opt,name=x5" thrift:"25"`
+	X06  int64              `json:"x6,omitempty" protobuf:"varint,26,opt,name=x6" thrift:"26"`
+	X07  int64              `json:"x7,omitempty" protobuf:"varint,27,opt,name=x7" thrift:"27"`
+	X08  int64              `json:"x8,omitempty" protobuf:"varint,28,opt,name=x8" thrift:"28"`
+	X09  int64              `json:"x9,omitempty" protobuf:"varint,29,opt,name=x9" thrift:"29"`
+	X10  int64              `json:"x10,omitempty" protobuf:"varint,30,opt,name=x10" thrift:"30"`
+	X11  int64              `json:"x11,omitempty" protobuf:"varint,31,opt,name=x11" thrift:"31"`
+	X12  int64              `json:"x12,omitempty" protobuf:"varint,32,opt,name=x12" thrift:"32"`
+	X13  int64              `json:"x13,omitempty" protobuf:"varint,33,opt,name=x13" thrift:"33"`
+	X14  int64              `json:"x14,omitempty" protobuf:"varint,34,opt,name=x14" thrift:"34"`
+	X15  int64              `json:"x15,omitempty" protobuf:"varint,35,opt,name=x15" thrift:"35"`
+	X16  int64              `json:"x16,omitempty" protobuf:"varint,36,opt,name=x16" thrift:"36"`
+	X17  int64              `json:"x17,omitempty" protobuf:"varint,37,opt,name=x17" thrift:"37"`
+	X18  int64              `json:"x18,omitempty" protobuf:"varint,38,opt,name=x18" thrift:"38"`
+	X19  int64              `json:"x19,omitempty" protobuf:"varint,39,opt,name=x19" thrift:"39"`
+	X20  int64              `json:"x20,omitempty" protobuf:"varint,40,opt,name=x20" thrift:"40"`
+	X21  int64              `json:"x21,omitempty" protobuf:"varint,41,opt,name=x21" thrift:"41"`
+	X22  int64              `json:"x22,omitempty" protobuf:"varint,42,opt,name=x22" thrift:"42"`
+	X23  int64              `json:"x23,omitempty" protobuf:"varint,43,opt,name=x23" thrift:"43"`
 }
 
 type Peer062 struct {
@@ -887,11 +2462,36 @@ type Peer062 struct {
 }
 
 type Rec063 struct {
-	V    int64    `json:"v" protobuf:"varint,1,opt,name=v" thrift:"1"`
-	Next *Rec063  `json:"next,omitempty" protobuf:"bytes,2,opt,name=next" thrift:"2"`
-	Kids []Rec063 `json:"kids,omitempty" protobuf:"bytes,3,rep,name=kids" thrift:"3"`
-	Peer *Peer063 `json:"peer,omitempty" protobuf:"bytes,4,opt,name=peer" thrift:"4"`
-	S    string   `json:"s,omitempty" protobuf:"bytes,5,opt,name=s" thrift:"5"`
+	M    map[string]Peer063 `json:"m,omitempty" protobuf:"bytes,6,rep,name=m" protobuf_key:"bytes,1,opt,name=key" protobuf_val:"bytes,2,opt,name=value" thrift:"6"`
+	V    int64              `json:"v" protobuf:"varint,1,opt,name=v" thrift:"1"`
+	Next *Rec063            `json:"next,omitempty" protobuf:"bytes,2,opt,name=next" thrift:"2"`
+	Kids []Rec063           `json:"kids,omitempty" protobuf:"bytes,3,rep,name=kids" thrift:"3"`
+	Peer *Peer063           `json:"peer,omitempty" protobuf:"bytes,4,opt,name=peer" thrift:"4"`
+	S    string             `json:"s,omitempty" protobuf:"bytes,5,opt,name=s" thrift:"5"`
+	X00  int64              `json:"x0,omitempty" protobuf:"varint,20,opt,name=x0" thrift:"20"`
+	X01  int64              `json:"x1,omitempty" protobuf:"varint,21,opt,name=x1" thrift:"21"`
+	X02  int64              `json:"x2,omitempty" protobuf:"varint,22,opt,name=x2" thrift:"22"`
+	X03  int64              `json:"x3,omitempty" protobuf:"varint,23,opt,name=x3" thrift:"23"`
+	X04  int64              `json:"x4,omitempty" protobuf:"varint,24,opt,name=x4" thrift:"24"`
+	X05  int64              `json:"x5,omitempty" protobuf:"varint,25,opt,name=x5" thrift:"25"`
+	X06  int64              `json:"x6,omitempty" protobuf:"varint,26,opt,name=x6" thrift:"26"`
+	X07  int64              `json:"x7,omitempty" protobuf:"varint,27,opt,name=x7" thrift:"27"`
+	X08  int64              `json:"x8,omitempty" protobuf:"varint,28,opt,name=x8" thrift:"28"`
+	X09  int64              `json:"x9,omitempty" protobuf:"varint,29,opt,name=x9" thrift:"29"`
+	X10  int64              `json:"x10,omitempty" protobuf:"varint,30,opt,name=x10" thrift:"30"`
+	X11  int64              `json:"x11,omitempty" protobuf:"varint,31,opt,name=x11" thrift:"31"`
+	X12  int64              `json:"x12,omitempty" protobuf:"varint,32,opt,name=x12" thrift:"32"`
+	X13  int64              `json:"x13,omitempty" protobuf:"varint,33,opt,name=x13" thrift:"33"`
+	X14  int64              `json:"x14,omitempty" protobuf:"varint,34,opt,name=x14" thrift:"34"`
+	X15  int64              `json:"x15,omitempty" protobuf:"varint,35,opt,name=x15" thrift:"35"`
+	X16  int64              `json:"x16,omitempty" protobuf:"varint,36,opt,name=x16" thrift:"36"`
+	X17  int64              `json:"x17,omitempty" protobuf:"varint,37,opt,name=x17" thrift:"37"`
+	X18  int64              `json:"x18,omitempty" protobuf:"varint,38,opt,name=x18" thrift:"38"`
+	X19  int64              `json:"x19,omitempty" protobuf:"varint,39,opt,name=x19" thrift:"39"`
+	X20  int64              `json:"x20,omitempty" protobuf:"varint,40,opt,name=x20" thrift:"40"`
+	X21  int64              `json:"x21,omitempty" protobuf:"varint,41,opt,name=x21" thrift:"41"`
+	X22  int64              `json:"x22,omitempty" protobuf:"varint,42,opt,name=x22" thrift:"42"`
+	X23  int64              `json:"x23,omitempty" protobuf:"varint,43,opt,name=x23" thrift:"43"`
 }
 
 type Peer063 struct {
@@ -901,11 +2501,36 @@ type Peer063 struct {
 }
 
 type Rec064 struct {
-	V    int64    `json:"v" protobuf:"varint,1,opt,name=v" thrift:"1"`
-	Next *Rec064  `json:"next,omitempty" protobuf:"bytes,2,opt,name=next" thrift:"2"`
-	Kids []Rec064 `json:"kids,omitempty" protobuf:"bytes,3,rep,name=kids" thrift:"3"`
-	Peer *Peer064 `json:"peer,omitempty" protobuf:"bytes,4,opt,name=peer" thrift:"4"`
-	S    string   `json:"s,omitempty" protobuf:"bytes,5,opt,name=s" thrift:"5"`
+	M    map[string]Peer064 `json:"m,omitempty" protobuf:"bytes,6,rep,name=m" protobuf_key:"bytes,1,opt,name=key" protobuf_val:"bytes,2,opt,name=value" thrift:"6"`
+	V    int64              `json:"v" protobuf:"varint,1,opt,name=v" thrift:"1"`
+	Next *Rec064            `json:"next,omitempty" protobuf:"bytes,2,opt,name=next" thrift:"2"`
+	Kids []Rec064           `json:"kids,omitempty" protobuf:"bytes,3,rep,name=kids" thrift:"3"`
+	Peer *Peer064           `json:"peer,omitempty" protobuf:"bytes,4,opt,name=peer" thrift:"4"`
+	S    string             `json:"s,omitempty" protobuf:"bytes,5,opt,name=s" thrift:"5"`
+	X00  int64              `json:"x0,omitempty" protobuf:"varint,20,opt,name=x0" thrift:"20"`
+	X01  int64              `json:"x1,omitempty" protobuf:"varint,21,opt,name=x1" thrift:"21"`
+	X02  int64              `json:"x2,omitempty" protobuf:"varint,22,opt,name=x2" thrift:"22"`
+	X03  int64              `json:"x3,omitempty" protobuf:"varint,23,opt,name=x3" thrift:"23"`
+	X04  int64              `json:"x4,omitempty" protobuf:"varint,24,opt,name=x4" thrift:"24"`
+	X05  int64              `json:"x5,omitempty" protobuf:"varint,25,opt,name=x5" thrift:"25"`
+	X06  int64              `json:"x6,omitempty" protobuf:"varint,26,opt,name=x6" thrift:"26"`
+	X07  int64              `json:"x7,omitempty" protobuf:"varint,27,opt,name=x7" thrift:"27"`
+	X08  int64              `json:"x8,omitempty" protobuf:"varint,28,opt,name=x8" thrift:"28"`
+	X09  int64              `json:"x9,omitempty" protobuf:"varint,29,opt,name=x9" thrift:"29"`
+	X10  int64              `json:"x10,omitempty" protobuf:"varint,30,opt,name=x10" thrift:"30"`
+	X11  int64              `json:"x11,omitempty" protobuf:"varint,31,opt,name=x11" thrift:"31"`
+	X12  int64              `json:"x12,omitempty" protobuf:"varint,32,opt,name=x12" thrift:"32"`
+	X13  int64              `json:"x13,omitempty" protobuf:"varint,33,opt,name=x13" thrift:"33"`
+	X14  int64              `json:"x14,omitempty" protobuf:"varint,34,opt,name=x14" thrift:"34"`
+	X15  int64              `json:"x15,omitempty" protobuf:"varint,35,opt,name=x15" thrift:"35"`
+	X16  int64              `json:"x16,omitempty" protobuf:"varint,36,opt,name=x16" thrift:"36"`
+	X17  int64              `json:"x17,omitempty" protobuf:"varint,37,opt,name=x17" thrift:"37"`
+	X18  int64              `json:"x18,omitempty" protobuf:"varint,38,opt,name=x18" thrift:"38"`
+	X19  int64              `json:"x19,omitempty" protobuf:"varint,39,opt,name=x19" thrift:"39"`
+	X20  int64              `json:"x20,omitempty" protobuf:"varint,40,opt,name=x20" thrift:"40"`
+	X21  int64              `json:"x21,omitempty" protobuf:"varint,41,opt,name=x21" thrift:"41"`
+	X22  int64              `json:"x22,omitempty" protobuf:"varint,42,opt,name=x22" thrift:"42"`
+	X23  int64              `json:"x23,omitempty" protobuf:"varint,43,opt,name=x23" thrift:"43"`
 }
 
 type Peer064 struct {
@@ -915,11 +2540,36 @@ type Peer064 struct {
 }
 
 type Rec065 struct {
-	V    int64    `json:"v" protobuf:"varint,1,opt,name=v" thrift:"1"`
-	Next *Rec065  `json:"next,omitempty" protobuf:"bytes,2,opt,name=next" thrift:"2"`
-	Kids []Rec065 `json:"kids,omitempty" protobuf:"bytes,3,rep,name=kids" thrift:"3"`
-	Peer *Peer065 `json:"peer,omitempty" protobuf:"bytes,4,opt,name=peer" thrift:"4"`
-	S    string   `json:"s,omitempty" protobuf:"bytes,5,opt,name=s" thrift:"5"`
+	M    map[string]Peer065 `json:"m,omitempty" protobuf:"bytes,6,rep,name=m" protobuf_key:"bytes,1,opt,name=key" protobuf_val:"bytes,2,opt,name=value" thrift:"6"`
+	V    int64              `json:"v" protobuf:"varint,1,opt,name=v" thrift:"1"`
+	Next *Rec065            `json:"next,omitempty" protobuf:"bytes,2,opt,name=next" thrift:"2"`
+	Kids []Rec065           `json:"kids,omitempty" protobuf:"bytes,3,rep,name=kids" thrift:"3"`
+	Peer *Peer065           `json:"peer,omitempty" protobuf:"bytes,4,opt,name=peer" thrift:"4"`
+	S    string             `json:"s,omitempty" protobuf:"bytes,5,opt,name=s" thrift:"5"`
+	X00  int64              `json:"x0,omitempty" protobuf:"varint,20,opt,name=x0" thrift:"20"`
+	X01  int64              `json:"x1,omitempty" protobuf:"varint,21,opt,name=x1" thrift:"21"`
+	X02  int64              `json:"x2,omitempty" protobuf:"varint,22,opt,name=x2" thrift:"22"`
+	X03  int64              `json:"x3,omitempty" protobuf:"varint,23,opt,name=x3" thrift:"23"`
+	X04  int64              `json:"x4,omitempty" protobuf:"varint,24,opt,name=x4" thrift:"24"`
+	X05  int64              `json:"x5,omitempty" protobuf:"varint,25,opt,name=x5" thrift:"25"`
+	X06  int64              `json:"x6,omitempty" protobuf:"varint,26,opt,name=x6" thrift:"26"`
+	X07  int64              `json:"x7,omitempty" protobuf:"varint,27,opt,name=x7" thrift:"27"`
+	X08  int64              `json:"x8,omitempty" protobuf:"varint,28,opt,name=x8" thrift:"28"`
+	X09  int64              `json:"x9,omitempty" protobuf:"varint,29,opt,name=x9" thrift:"29"`
+	X10  int64              `json:"x10,omitempty" protobuf:"varint,30,opt,name=x10" thrift:"30"`
+	X11  int64              `json:"x11,omitempty" protobuf:"varint,31,opt,name=x11" thrift:"31"`
+	X12  int64              `json:"x12,omitempty" protobuf:"varint,32,opt,name=x12" thrift:"32"`
+	X13  int64              `json:"x13,omitempty" protobuf:"varint,33,opt,name=x13" thrift:"33"`
+	X14  int64              `json:"x14,omitempty" protobuf:"varint,34,opt,name=x14" thrift:"34"`
+	X15  int64              `json:"x15,omitempty" protobuf:"varint,35,opt,name=x15" thrift:"35"`
+	X16  int64              `json:"x16,omitempty" protobuf:"varint,36,opt,name=x16" thrift:"36"`
+	X17  int64              `json:"x17,omitempty" protobuf:"varint,37,opt,name=x17" thrift:"37"`
+	X18  int64              `json:"x18,omitempty" protobuf:"varint,38,opt,name=x18" thrift:"38"`
+	X19  int64              `json:"x19,omitempty" protobuf:"varint,39,opt,name=x19" thrift:"39"`
+	X20  int64              `json:"x20,omitempty" protobuf:"varint,40,opt,name=x20" thrift:"40"`
+	X21  int64              `json:"x21,omitempty" protobuf:"varint,41,opt,name=x21" thrift:"41"`
+	X22  int64              `json:"x22,omitempty" protobuf:"varint,42,opt,name=x22" thrift:"42"`
+	X23  int64              `json:"x23,omitempty" protobuf:"varint,43,opt,name=x23" thrift:"43"`
 }
 
 type Peer065 struct {
@@ -929,11 +2579,36 @@ type Peer065 struct {
 }
 
 type Rec066 struct {
-	V    int64    `json:"v" protobuf:"varint,1,opt,name=v" thrift:"1"`
-	Next *Rec066  `json:"next,omitempty" protobuf:"bytes,2,opt,name=next" thrift:"2"`
-	Kids []Rec066 `json:"kids,omitempty" protobuf:"bytes,3,rep,name=kids" thrift:"3"`
-	Peer *Peer066 `json:"peer,omitempty" protobuf:"bytes,4,opt,name=peer" thrift:"4"`
-	S    string   `json:"s,omitempty" protobuf:"bytes,5,opt,name=s" thrift:"5"`
+	M    map[string]Peer066 `json:"m,omitempty" protobuf:"bytes,6,rep,name=m" protobuf_key:"bytes,1,opt,name=key" protobuf_val:"bytes,2,opt,name=value" thrift:"6"`
+	V    int64              `json:"v" protobuf:"varint,1,opt,name=v" thrift:"1"`
+	Next *Rec066            `json:"next,omitempty" protobuf:"bytes,2,opt,name=next" thrift:"2"`
+	Kids []Rec066           `json:"kids,omitempty" protobuf:"bytes,3,rep,name=kids" thrift:"3"`
+	Peer *Peer066           `json:"peer,omitempty" protobuf:"bytes,4,opt,name=peer" thrift:"4"`
+	S    string             `json:"s,omitempty" protobuf:"bytes,5,opt,name=s" thrift:"5"`
+	X00  int64              `json:"x0,omitempty" protobuf:"varint,20,opt,name=x0" thrift:"20"`
+	X01  int64              `json:"x1,omitempty" protobuf:"varint,21,opt,name=x1" thrift:"21"`
+	X02  int64              `json:"x2,omitempty" protobuf:"varint,22,opt,name=x2" thrift:"22"`
+	X03  int64              `json:"x3,omitempty" protobuf:"varint,23,opt,name=x3" thrift:"23"`
+	X04  int64              `json:"x4,omitempty" protobuf:"varint,24,opt,name=x4" thrift:"24"`
+	X05  int64              `json:"x5,omitempty" protobuf:"varint,25,opt,name=x5" thrift:"25"`
+	X06  int64              `json:"x6,omitempty" protobuf:"varint,26,opt,name=x6" thrift:"26"`
+	X07  int64              `json:"x7,omitempty" protobuf:"varint,27,opt,name=x7" thrift:"27"`
+	X08  int64              `json:"x8,omitempty" protobuf:"varint,28,opt,name=x8" thrift:"28"`
+	X09  int64              `json:"x9,omitempty" protobuf:"varint,29,opt,name=x9" thrift:"29"`
+	X10  int64              `json:"x10,omitempty" protobuf:"varint,30,opt,name=x10" thrift:"30"`
+	X11  int64              `json:"x11,omitempty" protobuf:"varint,31,opt,name=x11" thrift:"31"`
+	X12  int64              `json:"x12,omitempty" protobuf:"varint,32,opt,name=x12" thrift:"32"`
+	X13  int64              `json:"x13,omitempty" protobuf:"varint,33,opt,name=x13" thrift:"33"`
+	X14  int64              `json:"x14,omitempty" protobuf:"varint,34,opt,name=x14" thrift:"34"`
+	X15  int64              `json:"x15,omitempty" protobuf:"varint,35,opt,name=x15" thrift:"35"`
+	X16  int64              `json:"x16,omitempty" protobuf:"varint,36,opt,name=x16" thrift:"36"`
+	X17  int64              `json:"x17,omitempty" protobuf:"varint,37,opt,name=x17" thrift:"37"`
+	X18  int64              `json:"x18,omitempty" protobuf:"varint,38,opt,name=x18" thrift:"38"`
+	X19  int64              `json:"x19,omitempty" protobuf:"varint,39,opt,name=x19" thrift:"39"`
+	X20  int64              `json:"x20,omitempty" protobuf:"varint,40,opt,name=x20" thrift:"40"`
+	X21  int64              `json:"x21,omitempty" protobuf:"varint,41,opt,name=x21" thrift:"41"`
+	X22  int64              `json:"x22,omitempty" protobuf:"varint,42,opt,name=x22" thrift:"42"`
+	X23  int64              `json:"x23,omitempty" protobuf:"varint,43,opt,name=x23" thrift:"43"`
 }
 
 type Peer066 struct {
@@ -943,11 +2618,36 @@ type Peer066 struct {
 }
 
 type Rec067 struct {
-	V    int64    `json:"v" protobuf:"varint,1,opt,name=v" thrift:"1"`
-	Next *Rec067  `json:"next,omitempty" protobuf:"bytes,2,opt,name=next" thrift:"2"`
-	Kids []Rec067 `json:"kids,omitempty" protobuf:"bytes,3,rep,name=kids" thrift:"3"`
-	Peer *Peer067 `json:"peer,omitempty" protobuf:"bytes,4,opt,name=peer" thrift:"4"`
-	S    string   `json:"s,omitempty" protobuf:"bytes,5,opt,name=s" thrift:"5"`
+	M    map[string]Peer067 `json:"m,omitempty" protobuf:"bytes,6,rep,name=m" protobuf_key:"bytes,1,opt,name=key" protobuf_val:"bytes,2,opt,name=value" thrift:"6"`
+	V    int64              `json:"v" protobuf:"varint,1,opt,name=v" thrift:"1"`
+	Next *Rec067            `json:"next,omitempty" protobuf:"bytes,2,opt,name=next" thrift:"2"`
+	Kids []Rec067           `json:"kids,omitempty" protobuf:"bytes,3,rep,name=kids" thrift:"3"`
+	Peer *Peer067           `json:"peer,omitempty" protobuf:"bytes,4,opt,name=peer" thrift:"4"`
+	S    string             `json:"s,omitempty" protobuf:"bytes,5,opt,name=s" thrift:"5"`
+	X00  int64              `json:"x0,omitempty" protobuf:"varint,20,opt,name=x0" thrift:"20"`
+	X01  int64              `json:"x1,omitempty" protobuf:"varint,21,opt,name=x1" thrift:"21"`
+	X02  int64              `json:"x2,omitempty" protobuf:"varint,22,opt,name=x2" thrift:"22"`
+	X03  int64              `json:"x3,omitempty" protobuf:"varint,23,opt,name=x3" thrift:"23"`
+	X04  int64              `json:"x4,omitempty" protobuf:"varint,24,opt,name=x4" thrift:"24"`
+	X05  int64              `json:"x5,omitempty" protobuf:"varint,25,opt,name=x5" thrift:"25"`
+	X06  int64              `json:"x6,omitempty" protobuf:"varint,26,opt,name=x6" thrift:"26"`
+	X07  int64              `json:"x7,omitempty" protobuf:"varint,27,opt,name=x7" thrift:"27"`
+	X08  int64              `json:"x8,omitempty" protobuf:"varint,28,opt,name=x8" thrift:"28"`
+	X09  int64              `json:"x9,omitempty" protobuf:"varint,29,opt,name=x9" thrift:"29"`
+	X10  int64              `json:"x10,omitempty" protobuf:"varint,30,opt,name=x10" thrift:"30"`
+	X11  int64              `json:"x11,omitempty" protobuf:"varint,31,opt,name=x11" thrift:"31"`
+	X12  int64              `json:"x12,omitempty" protobuf:"varint,32,opt,name=x12" thrift:"32"`
+	X13  int64              `json:"x13,omitempty" protobuf:"varint,33,opt,name=x13" thrift:"33"`
+	X14  int64              `json:"x14,omitempty" protobuf:"varint,34,opt,name=x14" thrift:"34"`
+	X15  int64              `json:"x15,omitempty" protobuf:"varint,35,opt,name=x15" thrift:"35"`
+	X16  int64              `json:"x16,omitempty" protobuf:"varint,36,opt,name=x16" thrift:"36"`
+	X17  int64              `json:"x17,omitempty" protobuf:"varint,37,opt,name=x17" thrift:"37"`
+	X18  int64              `json:"x18,omitempty" protobuf:"varint,38,opt,name=x18" thrift:"38"`
+	X19  int64              `json:"x19,omitempty" protobuf:"varint,39,opt,name=x19" thrift:"39"`
+	X20  int64              `json:"x20,omitempty" protobuf:"varint,40,opt,name=x20" thrift:"40"`
+	X21  int64              `json:"x21,omitempty" protobuf:"varint,41,opt,name=x21" thrift:"41"`
+	X22  int64              `json:"x22,omitempty" protobuf:"varint,42,opt,name=x22" thrift:"42"`
+	X23  int64              `json:"x23,omitempty" protobuf:"varint,43,opt,name=x23" thrift:"43"`
 }
 
 type Peer067 struct {
@@ -957,11 +2657,36 @@ type Peer067 struct {
 }
 
 type Rec068 struct {
-	V    int64    `json:"v" protobuf:"varint,1,opt,name=v" thrift:"1"`
-	Next *Rec068  `json:"next,omitempty" protobuf:"bytes,2,opt,name=next" thrift:"2"`
-	Kids []Rec068 `json:"kids,omitempty" protobuf:"bytes,3,rep,name=kids" thrift:"3"`
-	Peer *Peer068 `json:"peer,omitempty" protobuf:"bytes,4,opt,name=peer" thrift:"4"`
-	S    string   `json:"s,omitempty" protobuf:"bytes,5,opt,name=s" thrift:"5"`
+	M    map[string]Peer068 `json:"m,omitempty" protobuf:"bytes,6,rep,name=m" protobuf_key:"bytes,1,opt,name=key" protobuf_val:"bytes,2,opt,name=value" thrift:"6"`
+	V    int64              `json:"v" protobuf:"varint,1,opt,name=v" thrift:"1"`
+	Next *Rec068            `json:"next,omitempty" protobuf:"bytes,2,opt,name=next" thrift:"2"`
+	Kids []Rec068           `json:"kids,omitempty" protobuf:"bytes,3,rep,name=kids" thrift:"3"`
+	Peer *Peer068           `json:"peer,omitempty" protobuf:"bytes,4,opt,name=peer" thrift:"4"`
+	S    string             `json:"s,omitempty" protobuf:"bytes,5,opt,name=s" thrift:"5"`
+	X00  int64              `json:"x0,omitempty" protobuf:"varint,20,opt,name=x0" thrift:"20"`
+	X01  int64              `json:"x1,omitempty" protobuf:"varint,21,opt,name=x1" thrift:"21"`
+	X02  int64              `json:"x2,omitempty" protobuf:"varint,22,opt,name=x2" thrift:"22"`
+	X03  int64              `json:"x3,omitempty" protobuf:"varint,23,opt,name=x3" thrift:"23"`
+	X04  int64              `json:"x4,omitempty" protobuf:"varint,24,opt,name=x4" thrift:"24"`
+	X05  int64              `json:"x5,omitempty" protobuf:"varint,25,opt,name=x5" thrift:"25"`
+	X06  int64              `json:"x6,omitempty" protobuf:"varint,26,opt,name=x6" thrift:"26"`
+	X07  int64              `json:"x7,omitempty" protobuf:"varint,27,opt,name=x7" thrift:"27"`
+	X08  int64              `json:"x8,omitempty" protobuf:"varint,28,opt,name=x8" thrift:"28"`
+	X09  int64              `json:"x9,omitempty" protobuf:"varint,29,opt,name=x9" thrift:"29"`
+	X10  int64              `json:"x10,omitempty" protobuf:"varint,30,opt,name=x10" thrift:"30"`
+	X11  int64              `json:"x11,omitempty" protobuf:"varint,31,opt,name=x11" thrift:"31"`
+	X12  int64              `json:"x12,omitempty" protobuf:"varint,32,opt,name=x12" thrift:"32"`
+	X13  int64              `json:"x13,omitempty" protobuf:"varint,33,opt,name=x13" thrift:"33"`
+	X14  int64              `json:"x14,omitempty" protobuf:"varint,34,opt,name=x14" thrift:"34"`
+	X15  int64              `json:"x15,omitempty" protobuf:"varint,35,opt,name=x15" thrift:"35"`
+	X16  int64              `json:"x16,omitempty" protobuf:"varint,36,opt,name=x16" thrift:"36"`
+	X17  int64              `json:"x17,omitempty" protobuf:"varint,37,opt,name=x17" thrift:"37"`
+	X18  int64              `json:"x18,omitempty" protobuf:"varint,38,opt,name=x18" thrift:"38"`
+	X19  int64              `json:"x19,omitempty" protobuf:"varint,39,opt,name=x19" thrift:"39"`
+	X20  int64              `json:"x20,omitempty" protobuf:"varint,40,opt,name=x20" thrift:"40"`
+	X21  int64              `json:"x21,omitempty" protobuf:"varint,41,opt,name=x21" thrift:"41"`
+	X22  int64              `json:"x22,omitempty" protobuf:"varint,42,opt,name=x22" thrift:"42"`
+	X23  int64              `json:"x23,omitempty" protobuf:"varint,43,opt,name=x23" thrift:"43"`
 }
 
 type Peer068 struct {
@@ -971,11 +2696,36 @@ type Peer068 struct {
 }
 
 type Rec069 struct {
-	V    int64    `json:"v" protobuf:"varint,1,opt,name=v" thrift:"1"`
-	Next *Rec069  `json:"next,omitempty" protobuf:"bytes,2,opt,name=next" thrift:"2"`
-	Kids []Rec069 `json:"kids,omitempty" protobuf:"bytes,3,rep,name=kids" thrift:"3"`
-	Peer *Peer069 `json:"peer,omitempty" protobuf:"bytes,4,opt,name=peer" thrift:"4"`
-	S    string   `json:"s,omitempty" protobuf:"bytes,5,opt,name=s" thrift:"5"`
+	M    map[string]Peer069 `json:"m,omitempty" protobuf:"bytes,6,rep,name=m" protobuf_key:"bytes,1,opt,name=key" protobuf_val:"bytes,2,opt,name=value" thrift:"6"`
+	V    int64              `json:"v" protobuf:"varint,1,opt,name=v" thrift:"1"`
+	Next *Rec069            `json:"next,omitempty" protobuf:"bytes,2,opt,name=next" thrift:"2"`
+	Kids []Rec069           `json:"kids,omitempty" protobuf:"bytes,3,rep,name=kids" thrift:"3"`
+	Peer *Peer069           `json:"peer,omitempty" protobuf:"bytes,4,opt,name=peer" thrift:"4"`
+	S    string             `json:"s,omitempty" protobuf:"bytes,5,opt,name=s" thrift:"5"`
+	X00  int64              `json:"x0,omitempty" protobuf:"varint,20,opt,name=x0" thrift:"20"`
+	X01  int64              `json:"x1,omitempty" protobuf:"varint,21,opt,name=x1" thrift:"21"`
+	X02  int64              `json:"x2,omitempty" protobuf:"varint,22,opt,name=x2" thrift:"22"`
+	X03  int64              `json:"x3,omitempty" protobuf:"varint,23,opt,name=x3" thrift:"23"`
+	X04  int64              `json:"x4,omitempty" protobuf:"varint,24,opt,name=x4" thrift:"24"`
+	X05  int64              `json:"x5,omitempty" protobuf:"varint,25,opt,name=x5" thrift:"25"`
+	X06  int64              `json:"x6,omitempty" protobuf:"varint,26,opt,name=x6" thrift:"26"`
+	X07  int64              `json:"x7,omitempty" protobuf:"varint,27,opt,name=x7" thrift:"27"`
+	X08  int64              `json:"x8,omitempty" protobuf:"varint,28,opt,name=x8" thrift:"28"`
+	X09  int64              `json:"x9,omitempty" protobuf:"varint,29,opt,name=x9" thrift:"29"`
+	X10  int64              `json:"x10,omitempty" protobuf:"varint,30,opt,name=x10" thrift:"30"`
+	X11  int64              `json:"x11,omitempty" protobuf:"varint,31,opt,name=x11" thrift:"31"`
+	X12  int64              `json:"x12,omitempty" protobuf:"varint,32,opt,name=x12" thrift:"32"`
+	X13  int64              `json:"x13,omitempty" protobuf:"varint,33,opt,name=x13" thrift:"33"`
+	X14  int64              `json:"x14,omitempty" protobuf:"varint,34,opt,name=x14" thrift:"34"`
+	X15  int64              `json:"x15,omitempty" protobuf:"varint,35,opt,name=x15" thrift:"35"`
+	X16  int64              `json:"x16,omitempty" protobuf:"varint,36,opt,name=x16" thrift:"36"`
+	X17  int64              `json:"x17,omitempty" protobuf:"varint,37,opt,name=x17" thrift:"37"`
+	X18  int64              `json:"x18,omitempty" protobuf:"varint,38,opt,name=x18" thrift:"38"`
+	X19  int64              `json:"x19,omitempty" protobuf:"varint,39,opt,name=x19" thrift:"39"`
+	X20  int64              `json:"x20,omitempty" protobuf:"varint,40,opt,name=x20" thrift:"40"`
+	X21  int64              `json:"x21,omitempty" protobuf:"varint,41,opt,name=x21" thrift:"41"`
+	X22  int64              `json:"x22,omitempty" protobuf:"varint,42,opt,name=x22" thrift:"42"`
+	X23  int64              `json:"x23,omitempty" protobuf:"varint,43,opt,name=x23" thrift:"43"`
 }
 
 type Peer069 struct {
@@ -985,11 +2735,36 @@ type Peer069 struct {
 }
 
 type Rec070 struct {
-	V    int64    `json:"v" protobuf:"varint,1,opt,name=v" thrift:"1"`
-	Next *Rec070  `json:"next,omitempty" protobuf:"bytes,2,opt,name=next" thrift:"2"`
-	Kids []Rec070 `json:"kids,omitempty" protobuf:"bytes,3,rep,name=kids" thrift:"3"`
-	Peer *Peer070 `json:"peer,omitempty" protobuf:"bytes,4,opt,name=peer" thrift:"4"`
-	S    string   `json:"s,omitempty" protobuf:"bytes,5,opt,name=s" thrift:"5"`
+	M    map[string]Peer070 `json:"m,omitempty" protobuf:"bytes,6,rep,name=m" protobuf_key:"bytes,1,opt,name=key" protobuf_val:"bytes,2,opt,name=value" thrift:"6"`
+	V    int64              `json:"v" protobuf:"varint,1,opt,name=v" thrift:"1"`
+	Next *Rec070            `json:"next,omitempty" protobuf:"bytes,2,opt,name=next" thrift:"2"`
+	Kids []Rec070           `json:"kids,omitempty" protobuf:"bytes,3,rep,name=kids" thrift:"3"`
+	Peer *Peer070           `json:"peer,omitempty" protobuf:"bytes,4,opt,name=peer" thrift:"4"`
+	S    string             `json:"s,omitempty" protobuf:"bytes,5,opt,name=s" thrift:"5"`
+	X00  int64              `json:"x0,omitempty" protobuf:"varint,20,opt,name=x0" thrift:"20"`
+	X01  int64              `json:"x1,omitempty" protobuf:"varint,21,opt,name=x1" thrift:"21"`
+	X02  int64              `json:"x2,omitempty" protobuf:"varint,22,opt,name=x2" thrift:"22"`
+	X03  int64              `json:"x3,omitempty" protobuf:"varint,23,opt,name=x3" thrift:"23"`
+	X04  int64              `json:"x4,omitempty" protobuf:"varint,24,opt,name=x4" thrift:"24"`
+	X05  int64              `json:"x5,omitempty" protobuf:"varint,25,opt,name=x5" thrift:"25"`
+	X06  int64              `json:"x6,omitempty" protobuf:"varint,26,opt,name=x6" thrift:"26"`
+	X07  int64              `json:"x7,omitempty" protobuf:"varint,27,opt,name=x7" thrift:"27"`
+	X08  int64              `json:"x8,omitempty" protobuf:"varint,28,opt,name=x8" thrift:"28"`
+	X09  int64              `json:"x9,omitempty" protobuf:"varint,29,opt,name=x9" thrift:"29"`
+	X10  int64              `json:"x10,omitempty" protobuf:"varint,30,opt,name=x10" thrift:"30"`
+	X11  int64              `json:"x11,omitempty" protobuf:"varint,31,opt,name=x11" thrift:"31"`
+	X12  int64              `json:"x12,omitempty" protobuf:"varint,32,opt,name=x12" thrift:"32"`
+	X13  int64              `json:"x13,omitempty" protobuf:"varint,33,opt,name=x13" thrift:"33"`
+	X14  int64              `json:"x14,omitempty" protobuf:"varint,34,opt,name=x14" thrift:"34"`
+	X15  int64              `json:"x15,omitempty" protobuf:"varint,35,opt,name=x15" thrift:"35"`
+	X16  int64              `json:"x16,omitempty" protobuf:"varint,36,opt,name=x16" thrift:"36"`
+	X17  int64              `json:"x17,omitempty" protobuf:"varint,37,opt,name=x17" thrift:"37"`
+	X18  int64              `json:"x18,omitempty" protobuf:"varint,38,opt,name=x18" thrift:"38"`
+	X19  int64              `json:"x19,omitempty" protobuf:"varint,39,opt,name=x19" thrift:"39"`
+	X20  int64              `json:"x20,omitempty" protobuf:"varint,40,opt,name=x20" thrift:"40"`
+	X21  int64              `json:"x21,omitempty" protobuf:"varint,41,opt,name=x21" thrift:"41"`
+	X22  int64              `json:"x22,omitempty" protobuf:"varint,42,opt,name=x22" thrift:"42"`
+	X23  int64              `json:"x23,omitempty" protobuf:"varint,43,opt,name=x23" thrift:"43"`
 }
 
 type Peer070 struct {
@@ -999,11 +2774,36 @@ type Peer070 struct {
 }
 
 type Rec071 struct {
-	V    int64    `json:"v" protobuf:"varint,1,opt,name=v" thrift:"1"`
-	Next *Rec071  `json:"next,omitempty" protobuf:"bytes,2,opt,name=next" thrift:"2"`
-	Kids []Rec071 `json:"kids,omitempty" protobuf:"bytes,3,rep,name=kids" thrift:"3"`
-	Peer *Peer071 `json:"peer,omitempty" protobuf:"bytes,4,opt,name=peer" thrift:"4"`
-	S    string   `json:"s,omitempty" protobuf:"bytes,5,opt,name=s" thrift:"5"`
+	M    map[string]Peer071 `json:"m,omitempty" protobuf:"bytes,6,rep,name=m" protobuf_key:"bytes,1,opt,name=key" protobuf_val:"bytes,2,opt,name=value" thrift:"6"`
+	V    int64              `json:"v" protobuf:"varint,1,opt,name=v" thrift:"1"`
+	Next *Rec071            `json:"next,omitempty" protobuf:"bytes,2,opt,name=next" thrift:"2"`
+	Kids []Rec071           `json:"kids,omitempty" protobuf:"bytes,3,rep,name=kids" thrift:"3"`
+	Peer *Peer071           `json:"peer,omitempty" protobuf:"bytes,4,opt,name=peer" thrift:"4"`
+	S    string             `json:"s,omitempty" protobuf:"bytes,5,opt,name=s" thrift:"5"`
+	X00  int64              `json:"x0,omitempty" protobuf:"varint,20,opt,name=x0" thrift:"20"`
+	X01  int64              `json:"x1,omitempty" protobuf:"varint,21,opt,name=x1" thrift:"21"`
+	X02  int64              `json:"x2,omitempty" protobuf:"varint,22,opt,name=x2" thrift:"22"`
+	X03  int64              `json:"x3,omitempty" protobuf:"varint,23,opt,name=x3" thrift:"23"`
+	X04  int64              `json:"x4,omitempty" protobuf:"varint,24,opt,name=x4" thrift:"24"`
+	X05  int64              `json:"x5,omitempty" protobuf:"varint,25,opt,name=x5" thrift:"25"`
+	X06  int64              `json:"x6,omitempty" protobuf:"varint,26,opt,name=x6" thrift:"26"`
+	X07  int64              `json:"x7,omitempty" protobuf:"varint,27,opt,name=x7" thrift:"27"`
+	X08  int64              `json:"x8,omitempty" protobuf:"varint,28,opt,name=x8" thrift:"28"`
+	X09  int64              `json:"x9,omitempty" protobuf:"varint,29,opt,name=x9" thrift:"29"`
+	X10  int64              `json:"x10,omitempty" protobuf:"varint,30,opt,name=x10" thrift:"30"`
+	X11  int64              `json:"x11,omitempty" protobuf:"varint,31,opt,name=x11" thrift:"31"`
+	X12  int64              `json:"x12,omitempty" protobuf:"varint,32,opt,name=x12" thrift:"32"`
+	X13  int64              `json:"x13,omitempty" protobuf:"varint,33,opt,name=x13" thrift:"33"`
+	X14  int64              `json:"x14,omitempty" protobuf:"varint,34,opt,name=x14" thrift:"34"`
+	X15  int64              `json:"x15,omitempty" protobuf:"varint,35,opt,name=x15" thrift:"35"`
+	X16  int64              `json:"x16,omitempty" protobuf:"varint,36,opt,name=x16" thrift:"36"`
+	X17  int64              `json:"x17,omitempty" protobuf:"varint,37,opt,name=x17" thrift:"37"`
+	X18  int64              `json:"x18,omitempty" protobuf:"varint,38,opt,name=x18" thrift:"38"`
+	X19  int64              `json:"x19,omitempty" protobuf:"varint,39,opt,name=x19" thrift:"39"`
+	X20  int64              `json:"x20,omitempty" protobuf:"varint,40,opt,name=x20" thrift:"40"`
+	X21  int64              `json:"x21,omitempty" protobuf:"varint,41,opt,name=x21" thrift:"41"`
+	X22  int64              `json:"x22,omitempty" protobuf:"varint,42,opt,name=x22" thrift:"42"`
+	X23  int64              `json:"x23,omitempty" protobuf:"varint,43,opt,name=x23" thrift:"43"`
 }
 
 type Peer071 struct {
@@ -1013,11 +2813,36 @@ type Peer071 struct {
 }
 
 type Rec072 struct {
-	V    int64    `json:"v" protobuf:"varint,1,opt,name=v" thrift:"1"`
-	Next *Rec072  `json:"next,omitempty" protobuf:"bytes,2,opt,name=next" thrift:"2"`
-	Kids []Rec072 `json:"kids,omitempty" protobuf:"bytes,3,rep,name=kids" thrift:"3"`
-	Peer *Peer072 `json:"peer,omitempty" protobuf:"bytes,4,opt,name=peer" thrift:"4"`
-	S    string   `json:"s,omitempty" protobuf:"bytes,5,opt,name=s" thrift:"5"`
+	M    map[string]Peer072 `json:"m,omitempty" protobuf:"bytes,6,rep,name=m" protobuf_key:"bytes,1,opt,name=key" protobuf_val:"bytes,2,opt,name=value" thrift:"6"`
+	V    int64              `json:"v" protobuf:"varint,1,opt,name=v" thrift:"1"`
+	Next *Rec072            `json:"next,omitempty" protobuf:"bytes,2,opt,name=next" thrift:"2"`
+	Kids []Rec072           `json:"kids,omitempty" protobuf:"bytes,3,rep,name=kids" thrift:"3"`
+	Peer *Peer072           `json:"peer,omitempty" protobuf:"bytes,4,opt,name=peer" thrift:"4"`
+	S    string             `json:"s,omitempty" protobuf:"bytes,5,opt,name=s" thrift:"5"`
+	X00  int64              `json:"x0,omitempty" protobuf:"varint,20,opt,name=x0" thrift:"20"`
+	X01  int64              `json:"x1,omitempty" protobuf:"varint,21,opt,name=x1" thrift:"21"`
+	X02  int64              `json:"x2,omitempty" protobuf:"varint,22,opt,name=x2" thrift:"22"`
+	X03  int64              `json:"x3,omitempty" protobuf:"varint,23,opt,name=x3" thrift:"23"`
+	X04  int64              `json:"x4,omitempty" protobuf:"varint,24,opt,name=x4" thrift:"24"`
+	X05  int64              `json:"x5,omitempty" protobuf:"varint,25,opt,name=x5" thrift:"25"`
+	X06  int64              `json:"x6,omitempty" protobuf:"varint,26,opt,name=x6" thrift:"26"`
+	X07  int64              `json:"x7,omitempty" protobuf:"varint,27,opt,name=x7" thrift:"27"`
+	X08  int64              `json:"x8,omitempty" protobuf:"varint,28,opt,name=x8" thrift:"28"`
+	X09  int64              `json:"x9,omitempty" protobuf:"varint,29,opt,name=x9" thrift:"29"`
+	X10  int64              `json:"x10,omitempty" protobuf:"varint,30,opt,name=x10" thrift:"30"`
+	X11  int64              `json:"x11,omitempty" protobuf:"varint,31,opt,name=x11" thrift:"31"`
+	X12  int64              `json:"x12,omitempty" protobuf:"varint,32,opt,name=x12" thrift:"32"`
+	X13  int64              `json:"x13,omitempty" protobuf:"varint,33,opt,name=x13" thrift:"33"`
+	X14  int64              `json:"x14,omitempty" protobuf:"varint,34,opt,name=x14" thrift:"34"`
+	X15  int64              `json:"x15,omitempty" protobuf:"varint,35,opt,name=x15" thrift:"35"`
+	X16  int64              `json:"x16,omitempty" protobuf:"varint,36,opt,name=x16" thrift:"36"`
+	X17  int64              `json:"x17,omitempty" protobuf:"varint,37,opt,name=x17" thrift:"37"`
+	X18  int64              `json:"x18,omitempty" protobuf:"varint,38,opt,name=x18" thrift:"38"`
+	X19  int64              `json:"x19,omitempty" protobuf:"varint,39,opt,name=x19" thrift:"39"`
+	X20  int64              `json:"x20,omitempty" protobuf:"varint,40,opt,name=x20" thrift:"40"`
+	X21  int64              `json:"x21,omitempty" protobuf:"varint,41,opt,name=x21" thrift:"41"`
+	X22  int64              `json:"x22,omitempty" protobuf:"varint,42,opt,name=x22" thrift:"42"`
+	X23  int64              `json:"x23,omitempty" protobuf:"varint,43,opt,name=x23" thrift:"43"`
 }
 
 type Peer072 struct {
@@ -1027,11 +2852,36 @@ type Peer072 struct {
 }
 
 type Rec073 struct {
-	V    int64    `json:"v" protobuf:"varint,1,opt,name=v" thrift:"1"`
-	Next *Rec073  `json:"next,omitempty" protobuf:"bytes,2,opt,name=next" thrift:"2"`
-	Kids []Rec073 `json:"kids,omitempty" protobuf:"bytes,3,rep,name=kids" thrift:"3"`
-	Peer *Peer073 `json:"peer,omitempty" protobuf:"bytes,4,opt,name=peer" thrift:"4"`
-	S    string   `json:"s,omitempty" protobuf:"bytes,5,opt,name=s" thrift:"5"`
+	M    map[string]Peer073 `json:"m,omitempty" protobuf:"bytes,6,rep,name=m" protobuf_key:"bytes,1,opt,name=key" protobuf_val:"bytes,2,opt,name=value" thrift:"6"`
+	V    int64              `json:"v" protobuf:"varint,1,opt,name=v" thrift:"1"`
+	Next *Rec073            `json:"next,omitempty" protobuf:"bytes,2,opt,name=next" thrift:"2"`
+	Kids []Rec073           `json:"kids,omitempty" protobuf:"bytes,3,rep,name=kids" thrift:"3"`
+	Peer *Peer073           `json:"peer,omitempty" protobuf:"bytes,4,opt,name=peer" thrift:"4"`
+	S    string             `json:"s,omitempty" protobuf:"bytes,5,opt,name=s" thrift:"5"`
+	X00  int64              `json:"x0,omitempty" protobuf:"varint,20,opt,name=x0" thrift:"20"`
+	X01  int64              `json:"x1,omitempty" protobuf:"varint,21,opt,name=x1" thrift:"21"`
+	X02  int64              `json:"x2,omitempty" protobuf:"varint,22,opt,name=x2" thrift:"22"`
+	X03  int64              `json:"x3,omitempty" protobuf:"varint,23,opt,name=x3" thrift:"23"`
+	X04  int64              `json:"x4,omitempty" protobuf:"varint,24,opt,name=x4" thrift:"24"`
+	X05  int64              `json:"x5,omitempty" protobuf:"varint,25,opt,name=x5" thrift:"25"`
+	X06  int64              `json:"x6,omitempty" protobuf:"varint,26,opt,name=x6" thrift:"26"`
+	X07  int64              `json:"x7,omitempty" protobuf:"varint,27,opt,name=x7" thrift:"27"`
+	X08  int64              `json:"x8,omitempty" protobuf:"varint,28,opt,name=x8" thrift:"28"`
+	X09  int64              `json:"x9,omitempty" protobuf:"varint,29,opt,name=x9" thrift:"29"`
+	X10  int64              `json:"x10,omitempty" protobuf:"varint,30,opt,name=x10" thrift:"30"`
+	X11  int64              `json:"x11,omitempty" protobuf:"varint,31,opt,name=x11" thrift:"31"`
+	X12  int64              `json:"x12,omitempty" protobuf:"varint,32,opt,name=x12" thrift:"32"`
+	X13  int64              `json:"x13,omitempty" protobuf:"varint,33,opt,name=x13" thrift:"33"`
+	X14  int64              `json:"x14,omitempty" protobuf:"varint,34,opt,name=x14" thrift:"34"`
+	X15  int64              `json:"x15,omitempty" protobuf:"varint,35,opt,name=x15" thrift:"35"`
+	X16  int64              `json:"x16,omitempty" protobuf:"varint,36,opt,name=x16" thrift:"36"`
+	X17  int64              `json:"x17,omitempty" protobuf:"varint,37,opt,name=x17" thrift:"37"`
+	X18  int64              `json:"x18,omitempty" protobuf:"varint,38,opt,name=x18" thrift:"38"`
+	X19  int64              `json:"x19,omitempty" protobuf:"varint,39,opt,name=x19" thrift:"39"`
+	X20  int64              `json:"x20,omitempty" protobuf:"varint,40,opt,name=x20" thrift:"40"`
+	X21  int64              `json:"x21,omitempty" protobuf:"varint,41,opt,name=x21" thrift:"41"`
+	X22  int64              `json:"x22,omitempty" protobuf:"varint,42,opt,name=x22" thrift:"42"`
+	X23  int64              `json:"x23,omitempty" protobuf:"varint,43,opt,name=x23" thrift:"43"`
 }
 
 type Peer073 struct {
@@ -1041,11 +2891,36 @@ type Peer073 struct {
 }
 
 type Rec074 struct {
-	V    int64    `json:"v" protobuf:"varint,1,opt,name=v" thrift:"1"`
-	Next *Rec074  `json:"next,omitempty" protobuf:"bytes,2,opt,name=next" thrift:"2"`
-	Kids []Rec074 `json:"kids,omitempty" protobuf:"bytes,3,rep,name=kids" thrift:"3"`
-	Peer *Peer074 `json:"peer,omitempty" protobuf:"bytes,4,opt,name=peer" thrift:"4"`
-	S    string   `json:"s,omitempty" protobuf:"bytes,5,opt,name=s" thrift:"5"`
+	M    map[string]Peer074 `json:"m,omitempty" protobuf:"bytes,6,rep,name=m" protobuf_key:"bytes,1,opt,name=key" protobuf_val:"bytes,2,opt,name=value" thrift:"6"`
+	V    int64              `json:"v" protobuf:"varint,1,opt,name=v" thrift:"1"`
+	Next *Rec074            `json:"next,omitempty" protobuf:"bytes,2,opt,name=next" thrift:"2"`
+	Kids []Rec074           `json:"kids,omitempty" protobuf:"bytes,3,rep,name=kids" thrift:"3"`
+	Peer *Peer074           `json:"peer,omitempty" protobuf:"bytes,4,opt,name=peer" thrift:"4"`
+	S    string             `json:"s,omitempty" protobuf:"bytes,5,opt,name=s" thrift:"5"`
+	X00  int64              `json:"x0,omitempty" protobuf:"varint,20,opt,name=x0" thrift:"20"`
+	X01  int64              `json:"x1,omitempty" protobuf:"varint,21,opt,name=x1" thrift:"21"`
+	X02  int64              `json:"x2,omitempty" protobuf:"varint,22,opt,name=x2" thrift:"22"`
+	X03  int64              `json:"x3,omitempty" protobuf:"varint,23,opt,name=x3" thrift:"23"`
+	X04  int64              `json:"x4,omitempty" protobuf:"varint,24,opt,name=x4" thrift:"24"`
+	X05  int64              `json:"x5,omitempty" protobuf:"varint,25,opt,name=x5" thrift:"25"`
+	X06  int64              `json:"x6,omitempty" protobuf:"varint,26,opt,name=x6" thrift:"26"`
+	X07  int64              `json:"x7,omitempty" protobuf:"varint,27,opt,name=x7" thrift:"27"`
+	X08  int64              `json:"x8,omitempty" protobuf:"varint,28,opt,name=x8" thrift:"28"`
+	X09  int64              `json:"x9,omitempty" protobuf:"varint,29,opt,name=x9" thrift:"29"`
+	X10  int64              `json:"x10,omitempty" protobuf:"varint,30,opt,name=x10" thrift:"30"`
+	X11  int64              `json:"x11,omitempty" protobuf:"varint,31,opt,name=x11" thrift:"31"`
+	X12  int64              `json:"x12,omitempty" protobuf:"varint,32,opt,name=x12" thrift:"32"`
+	X13  int64              `json:"x13,omitempty" protobuf:"varint,33,opt,name=x13" thrift:"33"`
+	X14  int64              `json:"x14,omitempty" protobuf:"varint,34,opt,name=x14" thrift:"34"`
+	X15  int64              `json:"x15,omitempty" protobuf:"varint,35,opt,name=x15" thrift:"35"`
+	X16  int64              `json:"x16,omitempty" protobuf:"varint,36,opt,name=x16" thrift:"36"`
+	X17  int64              `json:"x17,omitempty" protobuf:"varint,37,opt,name=x17" thrift:"37"`
+	X18  int64              `json:"x18,omitempty" protobuf:"varint,38,opt,name=x18" thrift:"38"`
+	X19  int64              `json:"x19,omitempty" protobuf:"varint,39,opt,name=x19" thrift:"39"`
+	X20  int64              `json:"x20,omitempty" protobuf:"varint,40,opt,name=x20" thrift:"40"`
+	X21  int64              `json:"x21,omitempty" protobuf:"varint,41,opt,name=x21" thrift:"41"`
+	X22  int64              `json:"x22,omitempty" protobuf:"varint,42,opt,name=x22" thrift:"42"`
+	X23  int64              `json:"x23,omitempty" protobuf:"varint,43,opt,name=x23" thrift:"43"`
 }
 
 type Peer074 struct {
@@ -1055,11 +2930,36 @@ type Peer074 struct {
 }
 
 type Rec075 struct {
-	V    int64    `json:"v" protobuf:"varint,1,opt,name=v" thrift:"1"`
-	Next *Rec075  `json:"next,omitempty" protobuf:"bytes,2,opt,name=next" thrift:"2"`
-	Kids []Rec075 `json:"kids,omitempty" protobuf:"bytes,3,rep,name=kids" thrift:"3"`
-	Peer *Peer075 `json:"peer,omitempty" protobuf:"bytes,4,opt,name=peer" thrift:"4"`
-	S    string   `json:"s,omitempty" protobuf:"bytes,5,opt,name=s" thrift:"5"`
+	M    map[string]Peer075 `json:"m,omitempty" protobuf:"bytes,6,rep,name=m" protobuf_key:"bytes,1,opt,name=key" protobuf_val:"bytes,2,opt,name=value" thrift:"6"`
+	V    int64              `json:"v" protobuf:"varint,1,opt,name=v" thrift:"1"`
+	Next *Rec075            `json:"next,omitempty" protobuf:"bytes,2,opt,name=next" thrift:"2"`
+	Kids []Rec075           `json:"kids,omitempty" protobuf:"bytes,3,rep,name=kids" thrift:"3"`
+	Peer *Peer075           `json:"peer,omitempty" protobuf:"bytes,4,opt,name=peer" thrift:"4"`
+	S    string             `json:"s,omitempty" protobuf:"bytes,5,opt,name=s" thrift:"5"`
+	X00  int64              `json:"x0,omitempty" protobuf:"varint,20,opt,name=x0" thrift:"20"`
+	X01  int64              `json:"x1,omitempty" protobuf:"varint,21,opt,name=x1" thrift:"21"`
+	X02  int64              `json:"x2,omitempty" protobuf:"varint,22,opt,name=x2" thrift:"22"`
+	X03  int64              `json:"x3,omitempty" protobuf:"varint,23,opt,name=x3" thrift:"23"`
+	X04  int64              `json:"x4,omitempty" protobuf:"varint,24,opt,name=x4" thrift:"24"`
+	X05  int64              `json:"x5,omitempty" protobuf:"varint,25,opt,name=x5" thrift:"25"`
+	X06  int64              `json:"x6,omitempty" protobuf:"varint,26,opt,name=x6" thrift:"26"`
+	X07  int64              `json:"x7,omitempty" protobuf:"varint,27,opt,name=x7" thrift:"27"`
+	X08  int64              `json:"x8,omitempty" protobuf:"varint,28,opt,name=x8" thrift:"28"`
+	X09  int64              `json:"x9,omitempty" protobuf:"varint,29,opt,name=x9" thrift:"29"`
+	X10  int64              `json:"x10,omitempty" protobuf:"varint,30,opt,name=x10" thrift:"30"`
+	X11  int64              `json:"x11,omitempty" protobuf:"varint,31,opt,name=x11" thrift:"31"`
+	X12  int64              `json:"x12,omitempty" protobuf:"varint,32,opt,name=x12" thrift:"32"`
+	X13  int64              `json:"x13,omitempty" protobuf:"varint,33,opt,name=x13" thrift:"33"`
+	X14  int64              `json:"x14,omitempty" protobuf:"varint,34,opt,name=x14" thrift:"34"`
+	X15  int64              `json:"x15,omitempty" protobuf:"varint,35,opt,name=x15" thrift:"35"`
+	X16  int64              `json:"x16,omitempty" protobuf:"varint,36,opt,name=x16" thrift:"36"`
+	X17  int64              `json:"x17,omitempty" protobuf:"varint,37,opt,name=x17" thrift:"37"`
+	X18  int64              `json:"x18,omitempty" protobuf:"varint,38,opt,name=x18" thrift:"38"`
+	X19  int64              `json:"x19,omitempty" protobuf:"varint,39,opt,name=x19" thrift:"39"`
+	X20  int64              `json:"x20,omitempty" protobuf:"varint,40,opt,name=x20" thrift:"40"`
+	X21  int64              `json:"x21,omitempty" protobuf:"varint,41,opt,name=x21" thrift:"41"`
+	X22  int64              `json:"x22,omitempty" protobuf:"varint,42,opt,name=x22" thrift:"42"`
+	X23  int64              `json:"x23,omitempty" protobuf:"varint,43,opt,name=x23" thrift:"43"`
 }
 
 type Peer075 struct {
@@ -1069,11 +2969,36 @@ type Peer075 struct {
 }
 
 type Rec076 struct {
-	V    int64    `json:"v" protobuf:"varint,1,opt,name=v" thrift:"1"`
-	Next *Rec076  `json:"next,omitempty" protobuf:"bytes,2,opt,name=next" thrift:"2"`
-	Kids []Rec076 `json:"kids,omitempty" protobuf:"bytes,3,rep,name=kids" thrift:"3"`
-	Peer *Peer076 `json:"peer,omitempty" protobuf:"bytes,4,opt,name=peer" thrift:"4"`
-	S    string   `json:"s,omitempty" protobuf:"bytes,5,opt,name=s" thrift:"5"`
+	M    map[string]Peer076 `json:"m,omitempty" protobuf:"bytes,6,rep,name=m" protobuf_key:"bytes,1,opt,name=key" protobuf_val:"bytes,2,opt,name=value" thrift:"6"`
+	V    int64              `json:"v" protobuf:"varint,1,opt,name=v" thrift:"1"`
+	Next *Rec076            `json:"next,omitempty" protobuf:"bytes,2,opt,name=next" thrift:"2"`
+	Kids []Rec076           `json:"kids,omitempty" protobuf:"bytes,3,rep,name=kids" thrift:"3"`
+	Peer *Peer076           `json:"peer,omitempty" protobuf:"bytes,4,opt,name=peer" thrift:"4"`
+	S    string             `json:"s,omitempty" protobuf:"bytes,5,opt,name=s" thrift:"5"`
+	X00  int64              `json:"x0,omitempty" protobuf:"varint,20,opt,name=x0" thrift:"20"`
+	X01  int64              `json:"x1,omitempty" protobuf:"varint,21,opt,name=x1" thrift:"21"`
+	X02  int64              `json:"x2,omitempty" protobuf:"varint,22,opt,name=x2" thrift:"22"`
+	X03  int64              `json:"x3,omitempty" protobuf:"varint,23,opt,name=x3" thrift:"23"`
+	X04  int64              `json:"x4,omitempty" protobuf:"varint,24,opt,name=x4" thrift:"24"`
+	X05  int64              `json:"x5,omitempty" protobuf:"varint,25,opt,name=x5" thrift:"25"`
+	X06  int64              `json:"x6,omitempty" protobuf:"varint,26,opt,name=x6" thrift:"26"`
+	X07  int64              `json:"x7,omitempty" protobuf:"varint,27,opt,name=x7" thrift:"27"`
+	X08  int64              `json:"x8,omitempty" protobuf:"varint,28,opt,name=x8" thrift:"28"`
+	X09  int64              `json:"x9,omitempty" protobuf:"varint,29,opt,name=x9" thrift:"29"`
+	X10  int64              `json:"x10,omitempty" protobuf:"varint,30,opt,name=x10" thrift:"30"`
+	X11  int64              `json:"x11,omitempty" protobuf:"varint,31,opt,name=x11" thrift:"31"`
+	X12  int64              `json:"x12,omitempty" protobuf:"varint,32,opt,name=x12" thrift:"32"`
+	X13  int64              `json:"x13,omitempty" protobuf:"varint,33,opt,name=x13" thrift:"33"`
+	X14  int64              `json:"x14,omitempty" protobuf:"varint,34,opt,name=x14" thrift:"34"`
+	X15  int64              `json:"x15,omitempty" protobuf:"varint,35,opt,name=x15" thrift:"35"`
+	X16  int64              `json:"x16,omitempty" protobuf:"varint,36,opt,name=x16" thrift:"36"`
+	X17  int64              `json:"x17,omitempty" protobuf:"varint,37,opt,name=x17" thrift:"37"`
+	X18  int64              `json:"x18,omitempty" protobuf:"varint,38,opt,name=x18" thrift:"38"`
+	X19  int64              `json:"x19,omitempty" protobuf:"varint,39,opt,name=x19" thrift:"39"`
+	X20  int64              `json:"x20,omitempty" protobuf:"varint,40,opt,name=x20" thrift:"40"`
+	X21  int64              `json:"x21,omitempty" protobuf:"varint,41,opt,name=x21" thrift:"41"`
+	X22  int64              `json:"x22,omitempty" protobuf:"varint,42,opt,name=x22" thrift:"42"`
+	X23  int64              `json:"x23,omitempty" protobuf:"varint,43,opt,name=x23" thrift:"43"`
 }
 
 type Peer076 struct {
@@ -1083,11 +3008,36 @@ type Peer076 struct {
 }
 
 type Rec077 struct {
-	V    int64    `json:"v" protobuf:"varint,1,opt,name=v" thrift:"1"`
-	Next *Rec077  `json:"next,omitempty" protobuf:"bytes,2,opt,name=next" thrift:"2"`
-	Kids []Rec077 `json:"kids,omitempty" protobuf:"bytes,3,rep,name=kids" thrift:"3"`
-	Peer *Peer077 `json:"peer,omitempty" protobuf:"bytes,4,opt,name=peer" thrift:"4"`
-	S    string   `json:"s,omitempty" protobuf:"bytes,5,opt,name=s" thrift:"5"`
+	M    map[string]Peer077 `json:"m,omitempty" protobuf:"bytes,6,rep,name=m" protobuf_key:"bytes,1,opt,name=key" protobuf_val:"bytes,2,opt,name=value" thrift:"6"`
+	V    int64              `json:"v" protobuf:"varint,1,opt,name=v" thrift:"1"`
+	Next *Rec077            `json:"next,omitempty" protobuf:"bytes,2,opt,name=next" thrift:"2"`
+	Kids []Rec077           `json:"kids,omitempty" protobuf:"bytes,3,rep,name=kids" thrift:"3"`
+	Peer *Peer077           `json:"peer,omitempty" protobuf:"bytes,4,opt,name=peer" thrift:"4"`
+	S    string             `json:"s,omitempty" protobuf:"bytes,5,opt,name=s" thrift:"5"`
+	X00  int64              `json:"x0,omitempty" protobuf:"varint,20,opt,name=x0" thrift:"20"`
+	X01  int64              `json:"x1,omitempty" protobuf:"varint,21,opt,name=x1" thrift:"21"`
+	X02  int64              `json:"x2,omitempty" protobuf:"varint,22,opt,name=x2" thrift:"22"`
+	X03  int64              `json:"x3,omitempty" protobuf:"varint,23,opt,name=x3" thrift:"23"`
+	X04  int64              `json:"x4,omitempty" protobuf:"varint,24,opt,name=x4" thrift:"24"`
+	X05  int64              `json:"x5,omitempty" protobuf:"varint,25,opt,name=x5" thrift:"25"`
+	X06  int64              `json:"x6,omitempty" protobuf:"varint,26,opt,name=x6" thrift:"26"`
+	X07  int64              `json:"x7,omitempty" protobuf:"varint,27,opt,name=x7" thrift:"27"`
+	X08  int64              `json:"x8,omitempty" protobuf:"varint,28,opt,name=x8" thrift:"28"`
+	X09  int64              `json:"x9,omitempty" protobuf:"varint,29,opt,name=x9" thrift:"29"`
+	X10  int64              `json:"x10,omitempty" protobuf:"varint,30,opt,name=x10" thrift:"30"`
+	X11  int64              `json:"x11,omitempty" protobuf:"varint,31,opt,name=x11" thrift:"31"`
+	X12  int64              `json:"x12,omitempty" protobuf:"varint,32,opt,name=x12" thrift:"32"`
+	X13  int64              `json:"x13,omitempty" protobuf:"varint,33,opt,name=x13" thrift:"33"`
+	X14  int64              `json:"x14,omitempty" protobuf:"varint,34,opt,name=x14" thrift:"34"`
+	X15  int64              `json:"x15,omitempty" protobuf:"varint,35,opt,name=x15" thrift:"35"`
+	X16  int64              `json:"x16,omitempty" protobuf:"varint,36,opt,name=x16" thrift:"36"`
+	X17  int64              `json:"x17,omitempty" protobuf:"varint,37,opt,name=x17" thrift:"37"`
+	X18  int64              `json:"x18,omitempty" protobuf:"varint,38,opt,name=x18" thrift:"38"`
+	X19  int64              `json:"x19,omitempty" protobuf:"varint,39,opt,name=x19" thrift:"39"`
+	X20  int64              `json:"x20,omitempty" protobuf:"varint,40,opt,name=x20" thrift:"40"`
+	X21  int64              `json:"x21,omitempty" protobuf:"varint,41,opt,name=x21" thrift:"41"`
+	X22  int64              `json:"x22,omitempty" protobuf:"varint,42,opt,name=x22" thrift:"42"`
+	X23  int64              `json:"x23,omitempty" protobuf:"varint,43,opt,name=x23" thrift:"43"`
 }
 
 type Peer077 struct {
@@ -1097,11 +3047,36 @@ type Peer077 struct {
 }
 
 type Rec078 struct {
-	V    int64    `json:"v" protobuf:"varint,1,opt,name=v" thrift:"1"`
-	Next *Rec078  `json:"next,omitempty" protobuf:"bytes,2,opt,name=next" thrift:"2"`
-	Kids []Rec078 `json:"kids,omitempty" protobuf:"bytes,3,rep,name=kids" thrift:"3"`
-	Peer *Peer078 `json:"peer,omitempty" protobuf:"bytes,4,opt,name=peer" thrift:"4"`
-	S    string   `json:"s,omitempty" protobuf:"bytes,5,opt,name=s" thrift:"5"`
+	M    map[string]Peer078 `json:"m,omitempty" protobuf:"bytes,6,rep,name=m" protobuf_key:"bytes,1,opt,name=key" protobuf_val:"bytes,2,opt,name=value" thrift:"6"`
+	V    int64              `json:"v" protobuf:"varint,1,opt,name=v" thrift:"1"`
+	Next *Rec078            `json:"next,omitempty" protobuf:"bytes,2,opt,name=next" thrift:"2"`
+	Kids []Rec078           `json:"kids,omitempty" protobuf:"bytes,3,rep,name=kids" thrift:"3"`
+	Peer *Peer078           `json:"peer,omitempty" protobuf:"bytes,4,opt,name=peer" thrift:"4"`
+	S    string             `json:"s,omitempty" protobuf:"bytes,5,opt,name=s" thrift:"5"`
+	X00  int64              `json:"x0,omitempty" protobuf:"varint,20,opt,name=x0" thrift:"20"`
+	X01  int64              `json:"x1,omitempty" protobuf:"varint,21,opt,name=x1" thrift:"21"`
+	X02  int64              `json:"x2,omitempty" protobuf:"varint,22,opt,name=x2" thrift:"22"`
+	X03  int64              `json:"x3,omitempty" protobuf:"varint,23,opt,name=x3" thrift:"23"`
+	X04  int64              `json:"x4,omitempty" protobuf:"varint,24,opt,name=x4" thrift:"24"`
+	X05  int64              `json:"x5,omitempty" protobuf:"varint,25,opt,name=x5" thrift:"25"`
+	X06  int64              `json:"x6,omitempty" protobuf:"varint,26,opt,name=x6" thrift:"26"`
+	X07  int64              `json:"x7,omitempty" protobuf:"varint,27,opt,name=x7" thrift:"27"`
+	X08  int64              `json:"x8,omitempty" protobuf:"varint,28,opt,name=x8" thrift:"28"`
+	X09  int64              `json:"x9,omitempty" protobuf:"varint,29,opt,name=x9" thrift:"29"`
+	X10  int64              `json:"x10,omitempty" protobuf:"varint,30,opt,name=x10" thrift:"30"`
+	X11  int64              `json:"x11,omitempty" protobuf:"varint,31,opt,name=x11" thrift:"31"`
+	X12  int64              `json:"x12,omitempty" protobuf:"varint,32,opt,name=x12" thrift:"32"`
+	X13  int64              `json:"x13,omitempty" protobuf:"varint,33,opt,name=x13" thrift:"33"`
+	X14  int64              `json:"x14,omitempty" protobuf:"varint,34,opt,name=x14" thrift:"34"`
+	X15  int64              `json:"x15,omitempty" protobuf:"varint,35,opt,name=x15" thrift:"35"`
+	X16  int64              `json:"x16,omitempty" protobuf:"varint,36,opt,name=x16" thrift:"36"`
+	X17  int64              `json:"x17,omitempty" protobuf:"varint,37,opt,name=x17" thrift:"37"`
+	X18  int64              `json:"x18,omitempty" protobuf:"varint,38,opt,name=x18" thrift:"38"`
+	X19  int64              `json:"x19,omitempty" protobuf:"varint,39,opt,name=x19" thrift:"39"`
+	X20  int64              `json:"x20,omitempty" protobuf:"varint,40,opt,name=x20" thrift:"40"`
+	X21  int64              `json:"x21,omitempty" protobuf:"varint,41,opt,name=x21" thrift:"41"`
+	X22  int64              `json:"x22,omitempty" protobuf:"varint,42,opt,name=x22" thrift:"42"`
+	X23  int64              `json:"x23,omitempty" protobuf:"varint,43,opt,name=x23" thrift:"43"`
 }
 
 type Peer078 struct {
@@ -1111,11 +3086,36 @@ type Peer078 struct {
 }
 
 type Rec079 struct {
-	V    int64    `json:"v" protobuf:"varint,1,opt,name=v" thrift:"1"`
-	Next *Rec079  `json:"next,omitempty" protobuf:"bytes,2,opt,name=next" thrift:"2"`
-	Kids []Rec079 `json:"kids,omitempty" protobuf:"bytes,3,rep,name=kids" thrift:"3"`
-	Peer *Peer079 `json:"peer,omitempty" protobuf:"bytes,4,opt,name=peer" thrift:"4"`
-	S    string   `json:"s,omitempty" protobuf:"bytes,5,opt,name=s" thrift:"5"`
+	M    map[string]Peer079 `json:"m,omitempty" protobuf:"bytes,6,rep,name=m" protobuf_key:"bytes,1,opt,name=key" protobuf_val:"bytes,2,opt,name=value" thrift:"6"`
+	V    int64              `json:"v" protobuf:"varint,1,opt,name=v" thrift:"1"`
+	Next *Rec079            `json:"next,omitempty" protobuf:"bytes,2,opt,name=next" thrift:"2"`
+	Kids []Rec079           `json:"kids,omitempty" protobuf:"bytes,3,rep,name=kids" thrift:"3"`
+	Peer *Peer079           `json:"peer,omitempty" protobuf:"bytes,4,opt,name=peer" thrift:"4"`
+	S    string             `json:"s,omitempty" protobuf:"bytes,5,opt,name=s" thrift:"5"`
+	X00  int64              `json:"x0,omitempty" protobuf:"varint,20,opt,name=x0" thrift:"20"`
+	X01  int64              `json:"x1,omitempty" protobuf:"varint,21,opt,name=x1" thrift:"21"`
+	X02  int64              `json:"x2,omitempty" protobuf:"varint,22,opt,name=x2" thrift:"22"`
+	X03  int64              `json:"x3,omitempty" protobuf:"varint,23,opt,name=x3" thrift:"23"`
+	X04  int64              `json:"x4,omitempty" protobuf:"varint,24,opt,name=x4" thrift:"24"`
+	X05  int64              `json:"x5,omitempty" protobuf:"varint,25,opt,name=x5" thrift:"25"`
+	X06  int64              `json:"x6,omitempty" protobuf:"varint,26,opt,name=x6" thrift:"26"`
+	X07  int64              `json:"x7,omitempty" protobuf:"varint,27,opt,name=x7" thrift:"27"`
+	X08  int64              `json:"x8,omitempty" protobuf:"varint,28,opt,name=x8" thrift:"28"`
+	X09  int64              `json:"x9,omitempty" protobuf:"varint,29,opt,name=x9" thrift:"29"`
+	X10  int64              `json:"x10,omitempty" protobuf:"varint,30,opt,name=x10" thrift:"30"`
+	X11  int64              `json:"x11,omitempty" protobuf:"varint,31,opt,name=x11" thrift:"31"`
+	X12  int64              `json:"x12,omitempty" protobuf:"varint,32,opt,name=x12" thrift:"32"`
+	X13  int64              `json:"x13,omitempty" protobuf:"varint,33,opt,name=x13" thrift:"33"`
+	X14  int64              `json:"x14,omitempty" protobuf:"varint,34,opt,name=x14" thrift:"34"`
+	X15  int64              `json:"x15,omitempty" protobuf:"varint,35,opt,name=x15" thrift:"35"`
+	X16  int64              `json:"x16,omitempty" protobuf:"varint,36,opt,name=x16" thrift:"36"`
+	X17  int64              `json:"x17,omitempty" protobuf:"varint,37,opt,name=x17" thrift:"37"`
+	X18  int64              `json:"x18,omitempty" protobuf:"varint,38,opt,name=x18" thrift:"38"`
+	X19  int64              `json:"x19,omitempty" protobuf:"varint,39,opt,name=x19" thrift:"39"`
+	X20  int64              `json:"x20,omitempty" protobuf:"varint,40,opt,name=x20" thrift:"40"`
+	X21  int64              `json:"x21,omitempty" protobuf:"varint,41,opt,name=x21" thrift:"41"`
+	X22  int64              `json:"x22,omitempty" protobuf:"varint,42,opt,name=x22" thrift:"42"`
+	X23  int64              `json:"x23,omitempty" protobuf:"varint,43,opt,name=x23" thrift:"43"`
 }
 
 type Peer079 struct {
@@ -1125,11 +3125,36 @@ type Peer079 struct {
 }
 
 type Rec080 struct {
-	V    int64    `json:"v" protobuf:"varint,1,opt,name=v" thrift:"1"`
-	Next *Rec080  `json:"next,omitempty" protobuf:"bytes,2,opt,name=next" thrift:"2"`
-	Kids []Rec080 `json:"kids,omitempty" protobuf:"bytes,3,rep,name=kids" thrift:"3"`
-	Peer *Peer080 `json:"peer,omitempty" protobuf:"bytes,4,opt,name=peer" thrift:"4"`
-	S    string   `json:"s,omitempty" protobuf:"bytes,5,opt,name=s" thrift:"5"`
+	M    map[string]Peer080 `json:"m,omitempty" protobuf:"bytes,6,rep,name=m" protobuf_key:"bytes,1,opt,name=key" protobuf_val:"bytes,2,opt,name=value" thrift:"6"`
+	V    int64              `json:"v" protobuf:"varint,1,opt,name=v" thrift:"1"`
+	Next *Rec080            `json:"next,omitempty" protobuf:"bytes,2,opt,name=next" thrift:"2"`
+	Kids []Rec080           `json:"kids,omitempty" protobuf:"bytes,3,rep,name=kids" thrift:"3"`
+	Peer *Peer080           `json:"peer,omitempty" protobuf:"bytes,4,opt,name=peer" thrift:"4"`
+	S    string             `json:"s,omitempty" protobuf:"bytes,5,opt,name=s" thrift:"5"`
+	X00  int64              `json:"x0,omitempty" protobuf:"varint,20,opt,name=x0" thrift:"20"`
+	X01  int64              `json:"x1,omitempty" protobuf:"varint,21,opt,name=x1" thrift:"21"`
+	X02  int64              `json:"x2,omitempty" protobuf:"varint,22,opt,name=x2" thrift:"22"`
+	X03  int64              `json:"x3,omitempty" protobuf:"varint,23,opt,name=x3" thrift:"23"`
+	X04  int64              `json:"x4,omitempty" protobuf:"varint,24,opt,name=x4" thrift:"24"`
+	X05  int64              `json:"x5,omitempty" protobuf:"varint,25,opt,name=x5" thrift:"25"`
+	X06  int64              `json:"x6,omitempty" protobuf:"varint,26,opt,name=x6" thrift:"26"`
+	X07  int64              `json:"x7,omitempty" protobuf:"varint,27,opt,name=x7" thrift:"27"`
+	X08  int64              `json:"x8,omitempty" protobuf:"varint,28,opt,name=x8" thrift:"28"`
+	X09  int64              `json:"x9,omitempty" protobuf:"varint,29,opt,name=x9" thrift:"29"`
+	X10  int64              `json:"x10,omitempty" protobuf:"varint,30,opt,name=x10" thrift:"30"`
+	X11  int64              `json:"x11,omitempty" protobuf:"varint,31,opt,name=x11" thrift:"31"`
+	X12  int64              `json:"x12,omitempty" protobuf:"varint,32,opt,name=x12" thrift:"32"`
+	X13  int64              `json:"x13,omitempty" protobuf:"varint,33,opt,name=x13" thrift:"33"`
+	X14  int64              `json:"x14,omitempty" protobuf:"varint,34,opt,name=x14" thrift:"34"`
+	X15  int64              `json:"x15,omitempty" protobuf:"varint,35,opt,name=x15" thrift:"35"`
+	X16  int64              `json:"x16,omitempty" protobuf:"varint,36,opt,name=x16" thrift:"36"`
+	X17  int64              `json:"x17,omitempty" protobuf:"varint,37,opt,name=x17" thrift:"37"`
+	X18  int64              `json:"x18,omitempty" protobuf:"varint,38,opt,name=x18" thrift:"38"`
+	X19  int64              `json:"x19,omitempty" protobuf:"varint,39,opt,name=x19" thrift:"39"`
+	X20  int64              `json:"x20,omitempty" protobuf:"varint,40,opt,name=x20" thrift:"40"`
+	X21  int64              `json:"x21,omitempty" protobuf:"varint,41,opt,name=x21" thrift:"41"`
+	X22  int64              `json:"x22,omitempty" protobuf:"varint,42,opt,name=x22" thrift:"42"`
+	X23  int64              `json:"x23,omitempty" protobuf:"varint,43,opt,name=x23" thrift:"43"`
 }
 
 type Peer080 struct {
@@ -1139,11 +3164,36 @@ type Peer080 struct {
 }
 
 type Rec081 struct {
-	V    int64    `json:"v" protobuf:"varint,1,opt,name=v" thrift:"1"`
-	Next *Rec081  `json:"next,omitempty" protobuf:"bytes,2,opt,name=next" thrift:"2"`
-	Kids []Rec081 `json:"kids,omitempty" protobuf:"bytes,3,rep,name=kids" thrift:"3"`
-	Peer *Peer081 `json:"peer,omitempty" protobuf:"bytes,4,opt,name=peer" thrift:"4"`
-	S    string   `json:"s,omitempty" protobuf:"bytes,5,opt,name=s" thrift:"5"`
+	M    map[string]Peer081 `json:"m,omitempty" protobuf:"bytes,6,rep,name=m" protobuf_key:"bytes,1,opt,name=key" protobuf_val:"bytes,2,opt,name=value" thrift:"6"`
+	V    int64              `json:"v" protobuf:"varint,1,opt,name=v" thrift:"1"`
+	Next *Rec081            `json:"next,omitempty" protobuf:"bytes,2,opt,name=next" thrift:"2"`
+	Kids []Rec081           `json:"kids,omitempty" protobuf:"bytes,3,rep,name=kids" thrift:"3"`
+	Peer *Peer081           `json:"peer,omitempty" protobuf:"bytes,4,opt,name=peer" thrift:"4"`
+	S    string             `json:"s,omitempty" protobuf:"bytes,5,opt,name=s" thrift:"5"`
+	X00  int64              `json:"x0,omitempty" protobuf:"varint,20,opt,name=x0" thrift:"20"`
+	X01  int64              `json:"x1,omitempty" protobuf:"varint,21,opt,name=x1" thrift:"21"`
+	X02  int64              `json:"x2,omitempty" protobuf:"varint,22,opt,name=x2" thrift:"22"`
+	X03  int64              `json:"x3,omitempty" protobuf:"varint,23,opt,name=x3" thrift:"23"`
+	X04  int64              `json:"x4,omitempty" protobuf:"varint,24,opt,name=x4" thrift:"24"`
+	X05  int64              `json:"x5,omitempty" protobuf:"varint,25,opt,name=x5" thrift:"25"`
+	X06  int64              `json:"x6,omitempty" protobuf:"varint,26,opt,name=x6" thrift:"26"`
+	X07  int64              `json:"x7,omitempty" protobuf:"varint,27,opt,name=x7" thrift:"27"`
+	X08  int64              `json:"x8,omitempty" protobuf:"varint,28,opt,name=x8" thrift:"28"`
+	X09  int64              `json:"x9,omitempty" protobuf:"varint,29,opt,name=x9" thrift:"29"`
+	X10  int64              `json:"x10,omitempty" protobuf:"varint,30,opt,name=x10" thrift:"30"`
+	X11  int64              `json:"x11,omitempty" protobuf:"varint,31,opt,name=x11" thrift:"31"`
+	X12  int64              `json:"x12,omitempty" protobuf:"varint,32,opt,name=x12" thrift:"32"`
+	X13  int64              `json:"x13,omitempty" protobuf:"varint,33,opt,name=x13" thrift:"33"`
+	X14  int64              `json:"x14,omitempty" protobuf:"varint,34,opt,name=x14" thrift:"34"`
+	X15  int64              `json:"x15,omitempty" protobuf:"varint,35,opt,name=x15" thrift:"35"`
+	X16  int64              `json:"x16,omitempty" protobuf:"varint,36,opt,name=x16" thrift:"36"`
+	X17  int64              `json:"x17,omitempty" protobuf:"varint,37,opt,name=x17" thrift:"37"`
+	X18  int64              `json:"x18,omitempty" protobuf:"varint,38,opt,name=x18" thrift:"38"`
+	X19  int64              `json:"x19,omitempty" protobuf:"varint,39,opt,name=x19" thrift:"39"`
+	X20  int64              `json:"x20,omitempty" protobuf:"varint,40,opt,name=x20" thrift:"40"`
+	X21  int64              `json:"x21,omitempty" protobuf:"varint,41,opt,name=x21" thrift:"41"`
+	X22  int64              `json:"x22,omitempty" protobuf:"varint,42,opt,name=x22" thrift:"42"`
+	X23  int64              `json:"x23,omitempty" protobuf:"varint,43,opt,name=x23" thrift:"43"`
 }
 
 type Peer081 struct {
@@ -1153,11 +3203,36 @@ type Peer081 struct {
 }
 
 type Rec082 struct {
-	V    int64    `json:"v" protobuf:"varint,1,opt,name=v" thrift:"1"`
-	Next *Rec082  `json:"next,omitempty" protobuf:"bytes,2,opt,name=next" thrift:"2"`
-	Kids []Rec082 `json:"kids,omitempty" protobuf:"bytes,3,rep,name=kids" thrift:"3"`
-	Peer *Peer082 `json:"peer,omitempty" protobuf:"bytes,4,opt,name=peer" thrift:"4"`
-	S    string   `json:"s,omitempty" protobuf:"bytes,5,opt,name=s" thrift:"5"`
+	M    map[string]Peer082 `json:"m,omitempty" protobuf:"bytes,6,rep,name=m" protobuf_key:"bytes,1,opt,name=key" protobuf_val:"bytes,2,opt,name=value" thrift:"6"`
+	V    int64              `json:"v" protobuf:"varint,1,opt,name=v" thrift:"1"`
+	Next *Rec082            `json:"next,omitempty" protobuf:"bytes,2,opt,name=next" thrift:"2"`
+	Kids []Rec082           `json:"kids,omitempty" protobuf:"bytes,3,rep,name=kids" thrift:"3"`
+	Peer *Peer082           `json:"peer,omitempty" protobuf:"bytes,4,opt,name=peer" thrift:"4"`
+	S    string             `json:"s,omitempty" protobuf:"bytes,5,opt,name=s" thrift:"5"`
+	X00  int64              `json:"x0,omitempty" protobuf:"varint,20,opt,name=x0" thrift:"20"`
+	X01  int64              `json:"x1,omitempty" protobuf:"varint,21,opt,name=x1" thrift:"21"`
+	X02  int64              `json:"x2,omitempty" protobuf:"varint,22,opt,name=x2" thrift:"22"`
+	X03  int64              `json:"x3,omitempty" protobuf:"varint,23,opt,name=x3" thrift:"23"`
+	X04  int64              `json:"x4,omitempty" protobuf:"varint,24,opt,name=x4" thrift:"24"`
+	X05  int64              `json:"x5,omitempty" protobuf:"varint,25,opt,name=x5" thrift:"25"`
+	X06  int64              `json:"x6,omitempty" protobuf:"varint,26,opt,name=x6" thrift:"26"`
+	X07  int64              `json:"x7,omitempty" protobuf:"varint,27,opt,name=x7" thrift:"27"`
+	X08  int64              `json:"x8,omitempty" protobuf:"varint,28,opt,name=x8" thrift:"28"`
+	X09  int64              `json:"x9,omitempty" protobuf:"varint,29,opt,name=x9" thrift:"29"`
+	X10  int64              `json:"x10,omitempty" protobuf:"varint,30,opt,name=x10" thrift:"30"`
+	X11  int64              `json:"x11,omitempty" protobuf:"varint,31,opt,name=x11" thrift:"31"`
+	X12  int64              `json:"x12,omitempty" protobuf:"varint,32,opt,name=x12" thrift:"32"`
+	X13  int64              `json:"x13,omitempty" protobuf:"varint,33,opt,name=x13" thrift:"33"`
+	X14  int64              `json:"x14,omitempty" protobuf:"varint,34,opt,name=x14" thrift:"34"`
+	X15  int64              `json:"x15,omitempty" protobuf:"varint,35,opt,name=x15" thrift:"35"`
+	X16  int64              `json:"x16,omitempty" protobuf:"varint,36,opt,name=x16" thrift:"36"`
+	X17  int64              `json:"x17,omitempty" protobuf:"varint,37,opt,name=x17" thrift:"37"`
+	X18  int64              `json:"x18,omitempty" protobuf:"varint,38,opt,name=x18" thrift:"38"`
+	X19  int64              `json:"x19,omitempty" protobuf:"varint,39,opt,name=x19" thrift:"39"`
+	X20  int64              `json:"x20,omitempty" protobuf:"varint,40,opt,name=x20" thrift:"40"`
+	X21  int64              `json:"x21,omitempty" protobuf:"varint,41,opt,name=x21" thrift:"41"`
+	X22  int64              `json:"x22,omitempty" protobuf:"varint,42,opt,name=x22" thrift:"42"`
+	X23  int64              `json:"x23,omitempty" protobuf:"varint,43,opt,name=x23" thrift:"43"`
 }
 
 type Peer082 struct {
@@ -1167,11 +3242,36 @@ type Peer082 struct {
 }
 
 type Rec083 struct {
-	V    int64    `json:"v" protobuf:"varint,1,opt,name=v" thrift:"1"`
-	Next *Rec083  `json:"next,omitempty" protobuf:"bytes,2,opt,name=next" thrift:"2"`
-	Kids []Rec083 `json:"kids,omitempty" protobuf:"bytes,3,rep,name=kids" thrift:"3"`
-	Peer *Peer083 `json:"peer,omitempty" protobuf:"bytes,4,opt,name=peer" thrift:"4"`
-	S    string   `json:"s,omitempty" protobuf:"bytes,5,opt,name=s" thrift:"5"`
+	M    map[string]Peer083 `json:"m,omitempty" protobuf:"bytes,6,rep,name=m" protobuf_key:"bytes,1,opt,name=key" protobuf_val:"bytes,2,opt,name=value" thrift:"6"`
+	V    int64              `json:"v" protobuf:"varint,1,opt,name=v" thrift:"1"`
+	Next *Rec083            `json:"next,omitempty" protobuf:"bytes,2,opt,name=next" thrift:"2"`
+	Kids []Rec083           `json:"kids,omitempty" protobuf:"bytes,3,rep,name=kids" thrift:"3"`
+	Peer *Peer083           `json:"peer,omitempty" protobuf:"bytes,4,opt,name=peer" thrift:"4"`
+	S    string             `json:"s,omitempty" protobuf:"bytes,5,opt,name=s" thrift:"5"`
+	X00  int64              `json:"x0,omitempty" protobuf:"varint,20,opt,name=x0" thrift:"20"`
+	X01  int64              `json:"x1,omitempty" protobuf:"varint,21,opt,name=x1" thrift:"21"`
+	X02  int64              `json:"x2,omitempty" protobuf:"varint,22,opt,name=x2" thrift:"22"`
+	X03  int64              `json:"x3,omitempty" protobuf:"varint,23,opt,name=x3" thrift:"23"`
+	X04  int64              `json:"x4,omitempty" protobuf:"varint,24,opt,name=x4" thrift:"24"`
+	X05  int64              `json:"x5,omitempty" protobuf:"varint,25,opt,name=x5" thrift:"25"`
+	X06  int64              `json:"x6,omitempty" protobuf:"varint,26,opt,name=x6" thrift:"26"`
+	X07  int64              `json:"x7,omitempty" protobuf:"varint,27,opt,name=x7" thrift:"27"`
+	X08  int64              `json:"x8,omitempty" protobuf:"varint,28,opt,name=x8" thrift:"28"`
+	X09  int64              `json:"x9,omitempty" protobuf:"varint,29,opt,name=x9" thrift:"29"`
+	X10  int64              `json:"x10,omitempty" protobuf:"varint,30,opt,name=x10" thrift:"30"`
+	X11  int64              `json:"x11,omitempty" protobuf:"varint,31,opt,name=x11" thrift:"31"`
+	X12  int64              `json:"x12,omitempty" protobuf:"varint,32,opt,name=x12" thrift:"32"`
+	X13  int64              `json:"x13,omitempty" protobuf:"varint,33,opt,name=x13" thrift:"33"`
+	X14  int64              `json:"x14,omitempty" protobuf:"varint,34,opt,name=x14" thrift:"34"`
+	X15  int64              `json:"x15,omitempty" protobuf:"varint,35,opt,name=x15" thrift:"35"`
+	X16  int64              `json:"x16,omitempty" protobuf:"varint,36,opt,name=x16" thrift:"36"`
+	X17  int64              `json:"x17,omitempty" protobuf:"varint,37,opt,name=x17" thrift:"37"`
+	X18  int64              `json:"x18,omitempty" protobuf:"varint,38,opt,name=x18" thrift:"38"`
+	X19  int64              `json:"x19,omitempty" protobuf:"varint,39,opt,name=x19" thrift:"39"`
+	X20  int64              `json:"x20,omitempty" protobuf:"varint,40,opt,name=x20" thrift:"40"`
+	X21  int64              `json:"x21,omitempty" protobuf:"varint,41,opt,name=x21" thrift:"41"`
+	X22  int64              `json:"x22,omitempty" protobuf:"varint,42,opt,name=x22" thrift:"42"`
+	X23  int64              `json:"x23,omitempty" protobuf:"varint,43,opt,name=x23" thrift:"43"`
 }
 
 type Peer083 struct {
@@ -1181,11 +3281,36 @@ type Peer083 struct {
 }
 
 type Rec084 struct {
-	V    int64    `json:"v" protobuf:"varint,1,opt,name=v" thrift:"1"`
-	Next *Rec084  `json:"next,omitempty" protobuf:"bytes,2,opt,name=next" thrift:"2"`
-	Kids []Rec084 `json:"kids,omitempty" protobuf:"bytes,3,rep,name=kids" thrift:"3"`
-	Peer *Peer084 `json:"peer,omitempty" protobuf:"bytes,4,opt,name=peer" thrift:"4"`
-	S    string   `json:"s,omitempty" protobuf:"bytes,5,opt,name=s" thrift:"5"`
+	M    map[string]Peer084 `json:"m,omitempty" protobuf:"bytes,6,rep,name=m" protobuf_key:"bytes,1,opt,name=key" protobuf_val:"bytes,2,opt,name=value" thrift:"6"`
+	V    int64              `json:"v" protobuf:"varint,1,opt,name=v" thrift:"1"`
+	Next *Rec084            `json:"next,omitempty" protobuf:"bytes,2,opt,name=next" thrift:"2"`
+	Kids []Rec084           `json:"kids,omitempty" protobuf:"bytes,3,rep,name=kids" thrift:"3"`
+	Peer *Peer084           `json:"peer,omitempty" protobuf:"bytes,4,opt,name=peer" thrift:"4"`
+	S    string             `json:"s,omitempty" protobuf:"bytes,5,opt,name=s" thrift:"5"`
+	X00  int64              `json:"x0,omitempty" protobuf:"varint,20,opt,name=x0" thrift:"20"`
+	X01  int64              `json:"x1,omitempty" protobuf:"varint,21,opt,name=x1" thrift:"21"`
+	X02  int64              `json:"x2,omitempty" protobuf:"varint,22,opt,name=x2" thrift:"22"`
+	X03  int64              `json:"x3,omitempty" protobuf:"varint,23,opt,name=x3" thrift:"23"`
+	X04  int64              `json:"x4,omitempty" protobuf:"varint,24,opt,name=x4" thrift:"24"`
+	X05  int64              `json:"x5,omitempty" protobuf:"varint,25,opt,name=x5" thrift:"25"`
+	X06  int64              `json:"x6,omitempty" protobuf:"varint,26,opt,name=x6" thrift:"26"`
+	X07  int64              `json:"x7,omitempty" protobuf:"varint,27,opt,name=x7" thrift:"27"`
+	X08  int64              `json:"x8,omitempty" protobuf:"varint,28,opt,name=x8" thrift:"28"`
+	X09  int64              `json:"x9,omitempty" protobuf:"varint,29,opt,name=x9" thrift:"29"`
+	X10  int64              `json:"x10,omitempty" protobuf:"varint,30,opt,name=x10" thrift:"30"`
+	X11  int64              `json:"x11,omitempty" protobuf:"varint,31,opt,name=x11" thrift:"31"`
+	X12  int64              `json:"x12,omitempty" protobuf:"varint,32,opt,name=x12" thrift:"32"`
+	X13  int64              `json:"x13,omitempty" protobuf:"varint,33,opt,name=x13" thrift:"33"`
+	X14  int64              `json:"x14,omitempty" protobuf:"varint,34,opt,name=x14" thrift:"34"`
+	X15  int64              `json:"x15,omitempty" protobuf:"varint,35,opt,name=x15" thrift:"35"`
+	X16  int64              `json:"x16,omitempty" protobuf:"varint,36,opt,name=x16" thrift:"36"`
+	X17  int64              `json:"x17,omitempty" protobuf:"varint,37,opt,name=x17" thrift:"37"`
+	X18  int64              `json:"x18,omitempty" protobuf:"varint,38,opt,name=x18" thrift:"38"`
+	X19  int64              `json:"x19,omitempty" protobuf:"varint,39,opt,name=x19" thrift:"39"`
+	X20  int64              `json:"x20,omitempty" protobuf:"varint,40,opt,name=x20" thrift:"40"`
+	X21  int64              `json:"x21,omitempty" protobuf:"varint,41,opt,name=x21" thrift:"41"`
+	X22  int64              `json:"x22,omitempty" protobuf:"varint,42,opt,name=x22" thrift:"42"`
+	X23  int64              `json:"x23,omitempty" protobuf:"varint,43,opt,name=x23" thrift:"43"`
 }
 
 type Peer084 struct {
@@ -1195,11 +3320,36 @@ type Peer084 struct {
 }
 
 type Rec085 struct {
-	V    int64    `json:"v" protobuf:"varint,1,opt,name=v" thrift:"1"`
-	Next *Rec085  `json:"next,omitempty" protobuf:"bytes,2,opt,name=next" thrift:"2"`
-	Kids []Rec085 `json:"kids,omitempty" protobuf:"bytes,3,rep,name=kids" thrift:"3"`
-	Peer *Peer085 `json:"peer,omitempty" protobuf:"bytes,4,opt,name=peer" thrift:"4"`
-	S    string   `json:"s,omitempty" protobuf:"bytes,5,opt,name=s" thrift:"5"`
+	M    map[string]Peer085 `json:"m,omitempty" protobuf:"bytes,6,rep,name=m" protobuf_key:"bytes,1,opt,name=key" protobuf_val:"bytes,2,opt,name=value" thrift:"6"`
+	V    int64              `json:"v" protobuf:"varint,1,opt,name=v" thrift:"1"`
+	Next *Rec085            `json:"next,omitempty" protobuf:"bytes,2,opt,name=next" thrift:"2"`
+	Kids []Rec085           `json:"kids,omitempty" protobuf:"bytes,3,rep,name=kids" thrift:"3"`
+	Peer *Peer085           `json:"peer,omitempty" protobuf:"bytes,4,opt,name=peer" thrift:"4"`
+	S    string             `json:"s,omitempty" protobuf:"bytes,5,opt,name=s" thrift:"5"`
+	X00  int64              `json:"x0,omitempty" protobuf:"varint,20,opt,name=x0" thrift:"20"`
+	X01  int64              `json:"x1,omitempty" protobuf:"varint,21,opt,name=x1" thrift:"21"`
+	X02  int64              `json:"x2,omitempty" protobuf:"varint,22,opt,name=x2" thrift:"22"`
+	X03  int64              `json:"x3,omitempty" protobuf:"varint,23,opt,name=x3" thrift:"23"`
+	X04  int64              `json:"x4,omitempty" protobuf:"varint,24,opt,name=x4" thrift:"24"`
+	X05  int64              `json:"x5,omitempty" protobuf:"varint,25,opt,name=x5" thrift:"25"`
+	X06  int64              `json:"x6,omitempty" protobuf:"varint,26,opt,name=x6" thrift:"26"`
+	X07  int64              `json:"x7,omitempty" protobuf:"varint,27,opt,name=x7" thrift:"27"`
+	X08  int64              `json:"x8,omitempty" protobuf:"varint,28,opt,name=x8" thrift:"28"`
+	X09  int64              `json:"x9,omitempty" protobuf:"varint,29,opt,name=x9" thrift:"29"`
+	X10  int64              `json:"x10,omitempty" protobuf:"varint,30,opt,name=x10" thrift:"30"`
+	X11  int64              `json:"x11,omitempty" protobuf:"varint,31,opt,name=x11" thrift:"31"`
+	X12  int64              `json:"x12,omitempty" protobuf:"varint,32,opt,name=x12" thrift:"32"`
+	X13  int64              `json:"x13,omitempty" protobuf:"varint,33,opt,name=x13" thrift:"33"`
+	X14  int64              `json:"x14,omitempty" protobuf:"varint,34,opt,name=x14" thrift:"34"`
+	X15  int64              `json:"x15,omitempty" protobuf:"varint,35,opt,name=x15" thrift:"35"`
+	X16  int64              `json:"x16,omitempty" protobuf:"varint,36,opt,name=x16" thrift:"36"`
+	X17  int64              `json:"x17,omitempty" protobuf:"varint,37,opt,name=x17" thrift:"37"`
+	X18  int64              `json:"x18,omitempty" protobuf:"varint,38,opt,name=x18" thrift:"38"`
+	X19  int64              `json:"x19,omitempty" protobuf:"varint,39,opt,name=x19" thrift:"39"`
+	X20  int64              `json:"x20,omitempty" protobuf:"varint,40,opt,name=x20" thrift:"40"`
+	X21  int64              `json:"x21,omitempty" protobuf:"varint,41,opt,name=x21" thrift:"41"`
+	X22  int64              `json:"x22,omitempty" protobuf:"varint,42,opt,name=x22" thrift:"42"`
+	X23  int64              `json:"x23,omitempty" protobuf:"varint,43,opt,name=x23" thrift:"43"`
 }
 
 type Peer085 struct {
@@ -1209,11 +3359,36 @@ type Peer085 struct {
 }
 
 type Rec086 struct {
-	V    int64    `json:"v" protobuf:"varint,1,opt,name=v" thrift:"1"`
-	Next *Rec086  `json:"next,omitempty" protobuf:"bytes,2,opt,name=next" thrift:"2"`
-	Kids []Rec086 `json:"kids,omitempty" protobuf:"bytes,3,rep,name=kids" thrift:"3"`
-	Peer *Peer086 `json:"peer,omitempty" protobuf:"bytes,4,opt,name=peer" thrift:"4"`
-	S    string   `json:"s,omitempty" protobuf:"bytes,5,opt,name=s" thrift:"5"`
+	M    map[string]Peer086 `json:"m,omitempty" protobuf:"bytes,6,rep,name=m" protobuf_key:"bytes,1,opt,name=key" protobuf_val:"bytes,2,opt,name=value" thrift:"6"`
+	V    int64              `json:"v" protobuf:"varint,1,opt,name=v" thrift:"1"`
+	Next *Rec086            `json:"next,omitempty" protobuf:"bytes,2,opt,name=next" thrift:"2"`
+	Kids []Rec086           `json:"kids,omitempty" protobuf:"bytes,3,rep,name=kids" thrift:"3"`
+	Peer *Peer086           `json:"peer,omitempty" protobuf:"bytes,4,opt,name=peer" thrift:"4"`
+	S    string             `json:"s,omitempty" protobuf:"bytes,5,opt,name=s" thrift:"5"`
+	X00  int64              `json:"x0,omitempty" protobuf:"varint,20,opt,name=x0" thrift:"20"`
+	X01  int64              `json:"x1,omitempty" protobuf:"varint,21,opt,name=x1" thrift:"21"`
+	X02  int64              `json:"x2,omitempty" protobuf:"varint,22,opt,name=x2" thrift:"22"`
+	X03  int64              `json:"x3,omitempty" protobuf:"varint,23,opt,name=x3" thrift:"23"`
+	X04  int64              `json:"x4,omitempty" protobuf:"varint,24,opt,name=x4" thrift:"24"`
+	X05  int64              `json:"x5,omitempty" protobuf:"varint,25,opt,name=x5" thrift:"25"`
+	X06  int64              `json:"x6,omitempty" protobuf:"varint,26,opt,name=x6" thrift:"26"`
+	X07  int64              `json:"x7,omitempty" protobuf:"varint,27,opt,name=x7" thrift:"27"`
+	X08  int64              `json:"x8,omitempty" protobuf:"varint,28,opt,name=x8" thrift:"28"`
+	X09  int64              `json:"x9,omitempty" protobuf:"varint,29,opt,name=x9" thrift:"29"`
+	X10  int64              `json:"x10,omitempty" protobuf:"varint,30,opt,name=x10" thrift:"30"`
+	X11  int64              `json:"x11,omitempty" protobuf:"varint,31,opt,name=x11" thrift:"31"`
+	X12  int64              `json:"x12,omitempty" protobuf:"varint,32,opt,name=x12" thrift:"32"`
+	X13  int64              `json:"x13,omitempty" protobuf:"varint,33,opt,name=x13" thrift:"33"`
+	X14  int64              `json:"x14,omitempty" protobuf:"varint,34,opt,name=x14" thrift:"34"`
+	X15  int64              `json:"x15,omitempty" protobuf:"varint,35,opt,name=x15" thrift:"35"`
+	X16  int64              `json:"x16,omitempty" protobuf:"varint,36,opt,name=x16" thrift:"36"`
+	X17  int64              `json:"x17,omitempty" protobuf:"varint,37,opt,name=x17" thrift:"37"`
+	X18  int64              `json:"x18,omitempty" protobuf:"varint,38,opt,name=x18" thrift:"38"`
+	X19  int64              `json:"x19,omitempty" protobuf:"varint,39,opt,name=x19" thrift:"39"`
+	X20  int64              `json:"x20,omitempty" protobuf:"varint,40,opt,name=x20" thrift:"40"`
+	X21  int64              `json:"x21,omitempty" protobuf:"varint,41,opt,name=x21" thrift:"41"`
+	X22  int64              `json:"x22,omitempty" protobuf:"varint,42,opt,name=x22" thrift:"42"`
+	X23  int64              `json:"x23,omitempty" protobuf:"varint,43,opt,name=x23" thrift:"43"`
 }
 
 type Peer086 struct {
@@ -1223,11 +3398,36 @@ type Peer086 struct {
 }
 
 type Rec087 struct {
-	V    int64    `json:"v" protobuf:"varint,1,opt,name=v" thrift:"1"`
-	Next *Rec087  `json:"next,omitempty" protobuf:"bytes,2,opt,name=next" thrift:"2"`
-	Kids []Rec087 `json:"kids,omitempty" protobuf:"bytes,3,rep,name=kids" thrift:"3"`
-	Peer *Peer087 `json:"peer,omitempty" protobuf:"bytes,4,opt,name=peer" thrift:"4"`
-	S    string   `json:"s,omitempty" protobuf:"bytes,5,opt,name=s" thrift:"5"`
+	M    map[string]Peer087 `json:"m,omitempty" protobuf:"bytes,6,rep,name=m" protobuf_key:"bytes,1,opt,name=key" protobuf_val:"bytes,2,opt,name=value" thrift:"6"`
+	V    int64              `json:"v" protobuf:"varint,1,opt,name=v" thrift:"1"`
+	Next *Rec087            `json:"next,omitempty" protobuf:"bytes,2,opt,name=next" thrift:"2"`
+	Kids []Rec087           `json:"kids,omitempty" protobuf:"bytes,3,rep,name=kids" thrift:"3"`
+	Peer *Peer087           `json:"peer,omitempty" protobuf:"bytes,4,opt,name=peer" thrift:"4"`
+	S    string             `json:"s,omitempty" protobuf:"bytes,5,opt,name=s" thrift:"5"`
+	X00  int64              `json:"x0,omitempty" protobuf:"varint,20,opt,name=x0" thrift:"20"`
+	X01  int64              `json:"x1,omitempty" protobuf:"varint,21,opt,name=x1" thrift:"21"`
+	X02  int64              `json:"x2,omitempty" protobuf:"varint,22,opt,name=x2" thrift:"22"`
+	X03  int64              `json:"x3,omitempty" protobuf:"varint,23,opt,name=x3" thrift:"23"`
+	X04  int64              `json:"x4,omitempty" protobuf:"varint,24,opt,name=x4" thrift:"24"`
+	X05  int64              `json:"x5,omitempty" protobuf:"varint,25,opt,name=x5" thrift:"25"`
+	X06  int64              `json:"x6,omitempty" protobuf:"varint,26,opt,name=x6" thrift:"26"`
+	X07  int64              `json:"x7,omitempty" protobuf:"varint,27,opt,name=x7" thrift:"27"`
+	X08  int64              `json:"x8,omitempty" protobuf:"varint,28,opt,name=x8" thrift:"28"`
+	X09  int64              `json:"x9,omitempty" protobuf:"varint,29,opt,name=x9" thrift:"29"`
+	X10  int64              `json:"x10,omitempty" protobuf:"varint,30,opt,name=x10" thrift:"30"`
+	X11  int64              `json:"x11,omitempty" protobuf:"varint,31,opt,name=x11" thrift:"31"`
+	X12  int64              `json:"x12,omitempty" protobuf:"varint,32,opt,name=x12" thrift:"32"`
+	X13  int64              `json:"x13,omitempty" protobuf:"varint,33,opt,name=x13" thrift:"33"`
+	X14  int64              `json:"x14,omitempty" protobuf:"varint,34,opt,name=x14" thrift:"34"`
+	X15  int64              `json:"x15,omitempty" protobuf:"varint,35,opt,name=x15" thrift:"35"`
+	X16  int64              `json:"x16,omitempty" protobuf:"varint,36,opt,name=x16" thrift:"36"`
+	X17  int64              `json:"x17,omitempty" protobuf:"varint,37,opt,name=x17" thrift:"37"`
+	X18  int64              `json:"x18,omitempty" protobuf:"varint,38,opt,name=x18" thrift:"38"`
+	X19  int64              `json:"x19,omitempty" protobuf:"varint,39,opt,name=x19" thrift:"39"`
+	X20  int64              `json:"x20,omitempty" protobuf:"varint,40,opt,name=x20" thrift:"40"`
+	X21  int64              `json:"x21,omitempty" protobuf:"varint,41,opt,name=x21" thrift:"41"`
+	X22  int64              `json:"x22,omitempty" protobuf:"varint,42,opt,name=x22" thrift:"42"`
+	X23  int64              `json:"x23,omitempty" protobuf:"varint,43,opt,name=x23" thrift:"43"`
 }
 
 type Peer087 struct {
@@ -1237,11 +3437,36 @@ type Peer087 struct {
 }
 
 type Rec088 struct {
-	V    int64    `json:"v" protobuf:"varint,1,opt,name=v" thrift:"1"`
-	Next *Rec088  `json:"next,omitempty" protobuf:"bytes,2,opt,name=next" thrift:"2"`
-	Kids []Rec088 `json:"kids,omitempty" protobuf:"bytes,3,rep,name=kids" thrift:"3"`
-	Peer *Peer088 `json:"peer,omitempty" protobuf:"bytes,4,opt,name=peer" thrift:"4"`
-	S    string   `json:"s,omitempty" protobuf:"bytes,5,opt,name=s" thrift:"5"`
+	M    map[string]Peer088 `json:"m,omitempty" protobuf:"bytes,6,rep,name=m" protobuf_key:"bytes,1,opt,name=key" protobuf_val:"bytes,2,opt,name=value" thrift:"6"`
+	V    int64              `json:"v" protobuf:"varint,1,opt,name=v" thrift:"1"`
+	Next *Rec088            `json:"next,omitempty" protobuf:"bytes,2,opt,name=next" thrift:"2"`
+	Kids []Rec088           `json:"kids,omitempty" protobuf:"bytes,3,rep,name=kids" thrift:"3"`
+	Peer *Peer088           `json:"peer,omitempty" protobuf:"bytes,4,opt,name=peer" thrift:"4"`
+	S    string             `json:"s,omitempty" protobuf:"bytes,5,opt,name=s" thrift:"5"`
+	X00  int64              `json:"x0,omitempty" protobuf:"varint,20,opt,name=x0" thrift:"20"`
+	X01  int64              `json:"x1,omitempty" protobuf:"varint,21,opt,name=x1" thrift:"21"`
+	X02  int64              `json:"x2,omitempty" protobuf:"varint,22,opt,name=x2" thrift:"22"`
+	X03  int64              `json:"x3,omitempty" protobuf:"varint,23,opt,name=x3" thrift:"23"`
+	X04  int64              `json:"x4,omitempty" protobuf:"varint,24,opt,name=x4" thrift:"24"`
+	X05  int64              `json:"x5,omitempty" protobuf:"varint,25,opt,name=x5" thrift:"25"`
+	X06  int64              `json:"x6,omitempty" protobuf:"varint,26,opt,name=x6" thrift:"26"`
+	X07  int64              `json:"x7,omitempty" protobuf:"varint,27,opt,name=x7" thrift:"27"`
+	X08  int64              `json:"x8,omitempty" protobuf:"varint,28,opt,name=x8" thrift:"28"`
+	X09  int64              `json:"x9,omitempty" protobuf:"varint,29,opt,name=x9" thrift:"29"`
+	X10  int64              `json:"x10,omitempty" protobuf:"varint,30,opt,name=x10" thrift:"30"`
+	X11  int64              `json:"x11,omitempty" protobuf:"varint,31,opt,name=x11" thrift:"31"`
+	X12  int64              `json:"x12,omitempty" protobuf:"varint,32,opt,name=x12" thrift:"32"`
+	X13  int64              `json:"x13,omitempty" protobuf:"varint,33,opt,name=x13" thrift:"33"`
+	X14  int64              `json:"x14,omitempty" protobuf:"varint,34,opt,name=x14" thrift:"34"`
+	X15  int64              `json:"x15,omitempty" protobuf:"varint,35,opt,name=x15" thrift:"35"`
+	X16  int64              `json:"x16,omitempty" protobuf:"varint,36,opt,name=x16" thrift:"36"`
+	X17  int64              `json:"x17,omitempty" protobuf:"varint,37,opt,name=x17" thrift:"37"`
+	X18  int64              `json:"x18,omitempty" protobuf:"varint,38,opt,name=x18" thrift:"38"`
+	X19  int64              `json:"x19,omitempty" protobuf:"varint,39,opt,name=x19" thrift:"39"`
+	X20  int64              `json:"x20,omitempty" protobuf:"varint,40,opt,name=x20" thrift:"40"`
+	X21  int64              `json:"x21,omitempty" protobuf:"varint,41,opt,name=x21" thrift:"41"`
+	X22  int64              `json:"x22,omitempty" protobuf:"varint,42,opt,name=x22" thrift:"42"`
+	X23  int64              `json:"x23,omitempty" protobuf:"varint,43,opt,name=x23" thrift:"43"`
 }
 
 type Peer088 struct {
@@ -1251,11 +3476,36 @@ type Peer088 struct {
 }
 
 type Rec089 struct {
-	V    int64    `json:"v" protobuf:"varint,1,opt,name=v" thrift:"1"`
-	Next *Rec089  `json:"next,omitempty" protobuf:"bytes,2,opt,name=next" thrift:"2"`
-	Kids []Rec089 `json:"kids,omitempty" protobuf:"bytes,3,rep,name=kids" thrift:"3"`
-	Peer *Peer089 `json:"peer,omitempty" protobuf:"bytes,4,opt,name=peer" thrift:"4"`
-	S    string   `json:"s,omitempty" protobuf:"bytes,5,opt,name=s" thrift:"5"`
+	M    map[string]Peer089 `json:"m,omitempty" protobuf:"bytes,6,rep,name=m" protobuf_key:"bytes,1,opt,name=key" protobuf_val:"bytes,2,opt,name=value" thrift:"6"`
+	V    int64              `json:"v" protobuf:"varint,1,opt,name=v" thrift:"1"`
+	Next *Rec089            `json:"next,omitempty" protobuf:"bytes,2,opt,name=next" thrift:"2"`
+	Kids []Rec089           `json:"kids,omitempty" protobuf:"bytes,3,rep,name=kids" thrift:"3"`
+	Peer *Peer089           `json:"peer,omitempty" protobuf:"bytes,4,opt,name=peer" thrift:"4"`
+	S    string             `json:"s,omitempty" protobuf:"bytes,5,opt,name=s" thrift:"5"`
+	X00  int64              `json:"x0,omitempty" protobuf:"varint,20,opt,name=x0" thrift:"20"`
+	X01  int64              `json:"x1,omitempty" protobuf:"varint,21,opt,name=x1" thrift:"21"`
+	X02  int64              `json:"x2,omitempty" protobuf:"varint,22,opt,name=x2" thrift:"22"`
+	X03  int64              `json:"x3,omitempty" protobuf:"varint,23,opt,name=x3" thrift:"23"`
+	X04  int64              `json:"x4,omitempty" protobuf:"varint,24,opt,name=x4" thrift:"24"`
+	X05  int64              `json:"x5,omitempty" protobuf:"varint,25,opt,name=x5" thrift:"25"`
+	X06  int64              `json:"x6,omitempty" protobuf:"varint,26,opt,name=x6" thrift:"26"`
+	X07  int64              `json:"x7,omitempty" protobuf:"varint,27,opt,name=x7" thrift:"27"`
+	X08  int64              `json:"x8,omitempty" protobuf:"varint,28,opt,name=x8" thrift:"28"`
+	X09  int64              `json:"x9,omitempty" protobuf:"varint,29,opt,name=x9" thrift:"29"`
+	X10  int64              `json:"x10,omitempty" protobuf:"varint,30,opt,name=x10" thrift:"30"`
+	X11  int64              `json:"x11,omitempty" protobuf:"varint,31,opt,name=x11" thrift:"31"`
+	X12  int64              `json:"x12,omitempty" protobuf:"varint,32,opt,name=x12" thrift:"32"`
+	X13  int64              `json:"x13,omitempty" protobuf:"varint,33,opt,name=x13" thrift:"33"`
+	X14  int64              `json:"x14,omitempty" protobuf:"varint,34,opt,name=x14" thrift:"34"`
+	X15  int64              `json:"x15,omitempty" protobuf:"varint,35,opt,name=x15" thrift:"35"`
+	X16  int64              `json:"x16,omitempty" protobuf:"varint,36,opt,name=x16" thrift:"36"`
+	X17  int64              `json:"x17,omitempty" protobuf:"varint,37,opt,name=x17" thrift:"37"`
+	X18  int64              `json:"x18,omitempty" protobuf:"varint,38,opt,name=x18" thrift:"38"`
+	X19  int64              `json:"x19,omitempty" protobuf:"varint,39,opt,name=x19" thrift:"39"`
+	X20  int64              `json:"x20,omitempty" protobuf:"varint,40,opt,name=x20" thrift:"40"`
+	X21  int64              `json:"x21,omitempty" protobuf:"varint,41,opt,name=x21" thrift:"41"`
+	X22  int64              `json:"x22,omitempty" protobuf:"varint,42,opt,name=x22" thrift:"42"`
+	X23  int64              `json:"x23,omitempty" protobuf:"varint,43,opt,name=x23" thrift:"43"`
 }
 
 type Peer089 struct {
@@ -1265,11 +3515,36 @@ type Peer089 struct {
 }
 
 type Rec090 struct {
-	V    int64    `json:"v" protobuf:"varint,1,opt,name=v" thrift:"1"`
-	Next *Rec090  `json:"next,omitempty" protobuf:"bytes,2,opt,name=next" thrift:"2"`
-	Kids []Rec090 `json:"kids,omitempty" protobuf:"bytes,3,rep,name=kids" thrift:"3"`
-	Peer *Peer090 `json:"peer,omitempty" protobuf:"bytes,4,opt,name=peer" thrift:"4"`
-	S    string   `json:"s,omitempty" protobuf:"bytes,5,opt,name=s" thrift:"5"`
+	M    map[string]Peer090 `json:"m,omitempty" protobuf:"bytes,6,rep,name=m" protobuf_key:"bytes,1,opt,name=key" protobuf_val:"bytes,2,opt,name=value" thrift:"6"`
+	V    int64              `json:"v" protobuf:"varint,1,opt,name=v" thrift:"1"`
+	Next *Rec090            `json:"next,omitempty" protobuf:"bytes,2,opt,name=next" thrift:"2"`
+	Kids []Rec090           `json:"kids,omitempty" protobuf:"bytes,3,rep,name=kids" thrift:"3"`
+	Peer *Peer090           `json:"peer,omitempty" protobuf:"bytes,4,opt,name=peer" thrift:"4"`
+	S    string             `json:"s,omitempty" protobuf:"bytes,5,opt,name=s" thrift:"5"`
+	X00  int64              `json:"x0,omitempty" protobuf:"varint,20,opt,name=x0" thrift:"20"`
+	X01  int64              `json:"x1,omitempty" protobuf:"varint,21,opt,name=x1" thrift:"21"`
+	X02  int64              `json:"x2,omitempty" protobuf:"varint,22,opt,name=x2" thrift:"22"`
+	X03  int64              `json:"x3,omitempty" protobuf:"varint,23,opt,name=x3" thrift:"23"`
+	X04  int64              `json:"x4,omitempty" protobuf:"varint,24,opt,name=x4" thrift:"24"`
+	X05  int64              `json:"x5,omitempty" protobuf:"varint,25,opt,name=x5" thrift:"25"`
+	X06  int64              `json:"x6,omitempty" protobuf:"varint,26,opt,name=x6" thrift:"26"`
+	X07  int64              `json:"x7,omitempty" protobuf:"varint,27,opt,name=x7" thrift:"27"`
+	X08  int64              `json:"x8,omitempty" protobuf:"varint,28,opt,name=x8" thrift:"28"`
+	X09  int64              `json:"x9,omitempty" protobuf:"varint,29,opt,name=x9" thrift:"29"`
+	X10  int64              `json:"x10,omitempty" protobuf:"varint,30,opt,name=x10" thrift:"30"`
+	X11  int64              `json:"x11,omitempty" protobuf:"varint,31,opt,name=x11" thrift:"31"`
+	X12  int64              `json:"x12,omitempty" protobuf:"varint,32,opt,name=x12" thrift:"32"`
+	X13  int64              `json:"x13,omitempty" protobuf:"varint,33,opt,name=x13" thrift:"33"`
+	X14  int64              `json:"x14,omitempty" protobuf:"varint,34,opt,name=x14" thrift:"34"`
+	X15  int64              `json:"x15,omitempty" protobuf:"varint,35,opt,name=x15" thrift:"35"`
+	X16  int64              `json:"x16,omitempty" protobuf:"varint,36,opt,name=x16" thrift:"36"`
+	X17  int64              `json:"x17,omitempty" protobuf:"varint,37,opt,name=x17" thrift:"37"`
+	X18  int64              `json:"x18,omitempty" protobuf:"varint,38,opt,name=x18" thrift:"38"`
+	X19  int64              `json:"x19,omitempty" protobuf:"varint,39,opt,name=x19" thrift:"39"`
+	X20  int64              `json:"x20,omitempty" protobuf:"varint,40,opt,name=x20" thrift:"40"`
+	X21  int64              `json:"x21,omitempty" protobuf:"varint,41,opt,name=x21" thrift:"41"`
+	X22  int64              `json:"x22,omitempty" protobuf:"varint,42,opt,name=x22" thrift:"42"`
+	X23  int64              `json:"x23,omitempty" protobuf:"varint,43,opt,name=x23" thrift:"43"`
 }
 
 type Peer090 struct {
@@ -1279,11 +3554,36 @@ type Peer090 struct {
 }
 
 type Rec091 struct {
-	V    int64    `json:"v" protobuf:"varint,1,opt,name=v" thrift:"1"`
-	Next *Rec091  `json:"next,omitempty" protobuf:"bytes,2,opt,name=next" thrift:"2"`
-	Kids []Rec091 `json:"kids,omitempty" protobuf:"bytes,3,rep,name=kids" thrift:"3"`
-	Peer *Peer091 `json:"peer,omitempty" protobuf:"bytes,4,opt,name=peer" thrift:"4"`
-	S    string   `json:"s,omitempty" protobuf:"bytes,5,opt,name=s" thrift:"5"`
+	M    map[string]Peer091 `json:"m,omitempty" protobuf:"bytes,6,rep,name=m" protobuf_key:"bytes,1,opt,name=key" protobuf_val:"bytes,2,opt,name=value" thrift:"6"`
+	V    int64              `json:"v" protobuf:"varint,1,opt,name=v" thrift:"1"`
+	Next *Rec091            `json:"next,omitempty" protobuf:"bytes,2,opt,name=next" thrift:"2"`
+	Kids []Rec091           `json:"kids,omitempty" protobuf:"bytes,3,rep,name=kids" thrift:"3"`
+	Peer *Peer091           `json:"peer,omitempty" protobuf:"bytes,4,opt,name=peer" thrift:"4"`
+	S    string             `json:"s,omitempty" protobuf:"bytes,5,opt,name=s" thrift:"5"`
+	X00  int64              `json:"x0,omitempty" protobuf:"varint,20,opt,name=x0" thrift:"20"`
+	X01  int64              `json:"x1,omitempty" protobuf:"varint,21,opt,name=x1" thrift:"21"`
+	X02  int64              `json:"x2,omitempty" protobuf:"varint,22,opt,name=x2" thrift:"22"`
+	X03  int64              `json:"x3,omitempty" protobuf:"varint,23,opt,name=x3" thrift:"23"`
+	X04  int64              `json:"x4,omitempty" protobuf:"varint,24,opt,name=x4" thrift:"24"`
+	X05  int64              `json:"x5,omitempty" protobuf:"varint,25,opt,name=x5" thrift:"25"`
+	X06  int64              `json:"x6,omitempty" protobuf:"varint,26,opt,name=x6" thrift:"26"`
+	X07  int64              `json:"x7,omitempty" protobuf:"varint,27,opt,name=x7" thrift:"27"`
+	X08  int64              `json:"x8,omitempty" protobuf:"varint,28,opt,name=x8" thrift:"28"`
+	X09  int64              `json:"x9,omitempty" protobuf:"varint,29,opt,name=x9" thrift:"29"`
+	X10  int64              `json:"x10,omitempty" protobuf:"varint,30,opt,name=x10" thrift:"30"`
+	X11  int64              `json:"x11,omitempty" protobuf:"varint,31,opt,name=x11" thrift:"31"`
+	X12  int64              `json:"x12,omitempty" protobuf:"varint,32,opt,name=x12" thrift:"32"`
+	X13  int64              `json:"x13,omitempty" protobuf:"varint,33,opt,name=x13" thrift:"33"`
+	X14  int64              `json:"x14,omitempty" protobuf:"varint,34,opt,name=x14" thrift:"34"`
+	X15  int64              `json:"x15,omitempty" protobuf:"varint,35,opt,name=x15" thrift:"35"`
+	X16  int64              `json:"x16,omitempty" protobuf:"varint,36,opt,name=x16" thrift:"36"`
+	X17  int64              `json:"x17,omitempty" protobuf:"varint,37,opt,name=x17" thrift:"37"`
+	X18  int64              `json:"x18,omitempty" protobuf:"varint,38,opt,name=x18" thrift:"38"`
+	X19  int64              `json:"x19,omitempty" protobuf:"varint,39,opt,name=x19" thrift:"39"`
+	X20  int64              `json:"x20,omitempty" protobuf:"varint,40,opt,name=x20" thrift:"40"`
+	X21  int64              `json:"x21,omitempty" protobuf:"varint,41,opt,name=x21" thrift:"41"`
+	X22  int64              `json:"x22,omitempty" protobuf:"varint,42,opt,name=x22" thrift:"42"`
+	X23  int64              `json:"x23,omitempty" protobuf:"varint,43,opt,name=x23" thrift:"43"`
 }
 
 type Peer091 struct {
@@ -1293,11 +3593,36 @@ type Peer091 struct {
 }
 
 type Rec092 struct {
-	V    int64    `json:"v" protobuf:"varint,1,opt,name=v" thrift:"1"`
-	Next *Rec092  `json:"next,omitempty" protobuf:"bytes,2,opt,name=next" thrift:"2"`
-	Kids []Rec092 `json:"kids,omitempty" protobuf:"bytes,3,rep,name=kids" thrift:"3"`
-	Peer *Peer092 `json:"peer,omitempty" protobuf:"bytes,4,opt,name=peer" thrift:"4"`
-	S    string   `json:"s,omitempty" protobuf:"bytes,5,opt,name=s" thrift:"5"`
+	M    map[string]Peer092 `json:"m,omitempty" protobuf:"bytes,6,rep,name=m" protobuf_key:"bytes,1,opt,name=key" protobuf_val:"bytes,2,opt,name=value" thrift:"6"`
+	V    int64              `json:"v" protobuf:"varint,1,opt,name=v" thrift:"1"`
+	Next *Rec092            `json:"next,omitempty" protobuf:"bytes,2,opt,name=next" thrift:"2"`
+	Kids []Rec092           `json:"kids,omitempty" protobuf:"bytes,3,rep,name=kids" thrift:"3"`
+	Peer *Peer092           `json:"peer,omitempty" protobuf:"bytes,4,opt,name=peer" thrift:"4"`
+	S    string             `json:"s,omitempty" protobuf:"bytes,5,opt,name=s" thrift:"5"`
+	X00  int64              `json:"x0,omitempty" protobuf:"varint,20,opt,name=x0" thrift:"20"`
+	X01  int64              `json:"x1,omitempty" protobuf:"varint,21,opt,name=x1" thrift:"21"`
+	X02  int64              `json:"x2,omitempty" protobuf:"varint,22,opt,name=x2" thrift:"22"`
+	X03  int64              `json:"x3,omitempty" protobuf:"varint,23,opt,name=x3" thrift:"23"`
+	X04  int64              `json:"x4,omitempty" protobuf:"varint,24,opt,name=x4" thrift:"24"`
+	X05  int64              `json:"x5,omitempty" protobuf:"varint,25,opt,name=x5" thrift:"25"`
+	X06  int64              `json:"x6,omitempty" protobuf:"varint,26,opt,name=x6" thrift:"26"`
+	X07  int64              `json:"x7,omitempty" protobuf:"varint,27,opt,name=x7" thrift:"27"`
+	X08  int64              `json:"x8,omitempty" protobuf:"varint,28,opt,name=x8" thrift:"28"`
+	X09  int64              `json:"x9,omitempty" protobuf:"varint,29,opt,name=x9" thrift:"29"`
+	X10  int64              `json:"x10,omitempty" protobuf:"varint,30,opt,name=x10" thrift:"30"`
+	X11  int64              `json:"x11,omitempty" protobuf:"varint,31,opt,name=x11" thrift:"31"`
+	X12  int64              `json:"x12,omitempty" protobuf:"varint,32,opt,name=x12" thrift:"32"`
+	X13  int64              `json:"x13,omitempty" protobuf:"varint,33,opt,name=x13" thrift:"33"`
+	X14  int64              `json:"x14,omitempty" protobuf:"varint,34,opt,name=x14" thrift:"34"`
+	X15  int64              `json:"x15,omitempty" protobuf:"varint,35,opt,name=x15" thrift:"35"`
+	X16  int64              `json:"x16,omitempty" protobuf:"varint,36,opt,name=x16" thrift:"36"`
+	X17  int64              `json:"x17,omitempty" protobuf:"varint,37,opt,name=x17" thrift:"37"`
+	X18  int64              `json:"x18,omitempty" protobuf:"varint,38,opt,name=x18" thrift:"38"`
+	X19  int64              `json:"x19,omitempty" protobuf:"varint,39,opt,name=x19" thrift:"39"`
+	X20  int64              `json:"x20,omitempty" protobuf:"varint,40,opt,name=x20" thrift:"40"`
+	X21  int64              `json:"x21,omitempty" protobuf:"varint,41,opt,name=x21" thrift:"41"`
+	X22  int64              `json:"x22,omitempty" protobuf:"varint,42,opt,name=x22" thrift:"42"`
+	X23  int64              `json:"x23,omitempty" protobuf:"varint,43,opt,name=x23" thrift:"43"`
 }
 
 type Peer092 struct {
@@ -1307,11 +3632,36 @@ type Peer092 struct {
 }
 
 type Rec093 struct {
-	V    int64    `json:"v" protobuf:"varint,1,opt,name=v" thrift:"1"`
-	Next *Rec093  `json:"next,omitempty" protobuf:"bytes,2,opt,name=next" thrift:"2"`
-	Kids []Rec093 `json:"kids,omitempty" protobuf:"bytes,3,rep,name=kids" thrift:"3"`
-	Peer *Peer093 `json:"peer,omitempty" protobuf:"bytes,4,opt,name=peer" thrift:"4"`
-	S    string   `json:"s,omitempty" protobuf:"bytes,5,opt,name=s" thrift:"5"`
+	M    map[string]Peer093 `json:"m,omitempty" protobuf:"bytes,6,rep,name=m" protobuf_key:"bytes,1,opt,name=key" protobuf_val:"bytes,2,opt,name=value" thrift:"6"`
+	V    int64              `json:"v" protobuf:"varint,1,opt,name=v" thrift:"1"`
+	Next *Rec093            `json:"next,omitempty" protobuf:"bytes,2,opt,name=next" thrift:"2"`
+	Kids []Rec093           `json:"kids,omitempty" protobuf:"bytes,3,rep,name=kids" thrift:"3"`
+	Peer *Peer093           `json:"peer,omitempty" protobuf:"bytes,4,opt,name=peer" thrift:"4"`
+	S    string             `json:"s,omitempty" protobuf:"bytes,5,opt,name=s" thrift:"5"`
+	X00  int64              `json:"x0,omitempty" protobuf:"varint,20,opt,name=x0" thrift:"20"`
+	X01  int64              `json:"x1,omitempty" protobuf:"varint,21,opt,name=x1" thrift:"21"`
+	X02  int64              `json:"x2,omitempty" protobuf:"varint,22,opt,name=x2" thrift:"22"`
+	X03  int64              `json:"x3,omitempty" protobuf:"varint,23,opt,name=x3" thrift:"23"`
+	X04  int64              `json:"x4,omitempty" protobuf:"varint,24,opt,name=x4" thrift:"24"`
+	X05  int64              `json:"x5,omitempty" protobuf:"varint,25,opt,name=x5" thrift:"25"`
+	X06  int64              `json:"x6,omitempty" protobuf:"varint,26,opt,name=x6" thrift:"26"`
+	X07  int64              `json:"x7,omitempty" protobuf:"varint,27,opt,name=x7" thrift:"27"`
+	X08  int64              `json:"x8,omitempty" protobuf:"varint,28,opt,name=x8" thrift:"28"`
+	X09  int64              `json:"x9,omitempty" protobuf:"varint,29,opt,name=x9" thrift:"29"`
+	X10  int64              `json:"x10,omitempty" protobuf:"varint,30,opt,name=x10" thrift:"30"`
+	X11  int64              `json:"x11,omitempty" protobuf:"varint,31,opt,name=x11" thrift:"31"`
+	X12  int64              `json:"x12,omitempty" protobuf:"varint,32,opt,name=x12" thrift:"32"`
+	X13  int64              `json:"x13,omitempty" protobuf:"varint,33,opt,name=x13" thrift:"33"`
+	X14  int64              `json:"x14,omitempty" protobuf:"varint,34,opt,name=x14" thrift:"34"`
+	X15  int64              `json:"x15,omitempty" protobuf:"varint,35,opt,name=x15" thrift:"35"`
+	X16  int64              `json:"x16,omitempty" protobuf:"varint,36,opt,name=x16" thrift:"36"`
+	X17  int64              `json:"x17,omitempty" protobuf:"varint,37,opt,name=x17" thrift:"37"`
+	X18  int64              `json:"x18,omitempty" protobuf:"varint,38,opt,name=x18" thrift:"38"`
+	X19  int64              `json:"x19,omitempty" protobuf:"varint,39,opt,name=x19" thrift:"39"`
+	X20  int64              `json:"x20,omitempty" protobuf:"varint,40,opt,name=x20" thrift:"40"`
+	X21  int64              `json:"x21,omitempty" protobuf:"varint,41,opt,name=x21" thrift:"41"`
+	X22  int64              `json:"x22,omitempty" protobuf:"varint,42,opt,name=x22" thrift:"42"`
+	X23  int64              `json:"x23,omitempty" protobuf:"varint,43,opt,name=x23" thrift:"43"`
 }
 
 type Peer093 struct {
@@ -1321,11 +3671,36 @@ type Peer093 struct {
 }
 
 type Rec094 struct {
-	V    int64    `json:"v" protobuf:"varint,1,opt,name=v" thrift:"1"`
-	Next *Rec094  `json:"next,omitempty" protobuf:"bytes,2,opt,name=next" thrift:"2"`
-	Kids []Rec094 `json:"kids,omitempty" protobuf:"bytes,3,rep,name=kids" thrift:"3"`
-	Peer *Peer094 `json:"peer,omitempty" protobuf:"bytes,4,opt,name=peer" thrift:"4"`
-	S    string   `json:"s,omitempty" protobuf:"bytes,5,opt,name=s" thrift:"5"`
+	M    map[string]Peer094 `json:"m,omitempty" protobuf:"bytes,6,rep,name=m" protobuf_key:"bytes,1,opt,name=key" protobuf_val:"bytes,2,opt,name=value" thrift:"6"`
+	V    int64              `json:"v" protobuf:"varint,1,opt,name=v" thrift:"1"`
+	Next *Rec094            `json:"next,omitempty" protobuf:"bytes,2,opt,name=next" thrift:"2"`
+	Kids []Rec094           `json:"kids,omitempty" protobuf:"bytes,3,rep,name=kids" thrift:"3"`
+	Peer *Peer094           `json:"peer,omitempty" protobuf:"bytes,4,opt,name=peer" thrift:"4"`
+	S    string             `json:"s,omitempty" protobuf:"bytes,5,opt,name=s" thrift:"5"`
+	X00  int64              `json:"x0,omitempty" protobuf:"varint,20,opt,name=x0" thrift:"20"`
+	X01  int64              `json:"x1,omitempty" protobuf:"varint,21,opt,name=x1" thrift:"21"`
+	X02  int64              `json:"x2,omitempty" protobuf:"varint,22,opt,name=x2" thrift:"22"`
+	X03  int64              `json:"x3,omitempty" protobuf:"varint,23,opt,name=x3" thrift:"23"`
+	X04  int64              `json:"x4,omitempty" protobuf:"varint,24,opt,name=x4" thrift:"24"`
+	X05  int64              `json:"x5,omitempty" protobuf:"varint,25,opt,name=x5" thrift:"25"`
+	X06  int64              `json:"x6,omitempty" protobuf:"varint,26,opt,name=x6" thrift:"26"`
+	X07  int64              `json:"x7,omitempty" protobuf:"varint,27,opt,name=x7" thrift:"27"`
+	X08  int64              `json:"x8,omitempty" protobuf:"varint,28,opt,name=x8" thrift:"28"`
+	X09  int64              `json:"x9,omitempty" protobuf:"varint,29,opt,name=x9" thrift:"29"`
+	X10  int64              `json:"x10,omitempty" protobuf:"varint,30,opt,name=x10" thrift:"30"`
+	X11  int64              `json:"x11,omitempty" protobuf:"varint,31,opt,name=x11" thrift:"31"`
+	X12  int64              `json:"x12,omitempty" protobuf:"varint,32,opt,name=x12" thrift:"32"`
+	X13  int64              `json:"x13,omitempty" protobuf:"varint,33,opt,name=x13" thrift:"33"`
+	X14  int64              `json:"x14,omitempty" protobuf:"varint,34,opt,name=x14" thrift:"34"`
+	X15  int64              `json:"x15,omitempty" protobuf:"varint,35,opt,name=x15" thrift:"35"`
+	X16  int64              `json:"x16,omitempty" protobuf:"varint,36,opt,name=x16" thrift:"36"`
+	X17  int64              `json:"x17,omitempty" protobuf:"varint,37,opt,name=x17" thrift:"37"`
+	X18  int64              `json:"x18,omitempty" protobuf:"varint,38,opt,name=x18" thrift:"38"`
+	X19  int64              `json:"x19,omitempty" protobuf:"varint,39,opt,name=x19" thrift:"39"`
+	X20  int64              `json:"x20,omitempty" protobuf:"varint,40,opt,name=x20" thrift:"40"`
+	X21  int64              `json:"x21,omitempty" protobuf:"varint,41,opt,name=x21" thrift:"41"`
+	X22  int64              `json:"x22,omitempty" protobuf:"varint,42,opt,name=x22" thrift:"42"`
+	X23  int64              `json:"x23,omitempty" protobuf:"varint,43,opt,name=x23" thrift:"43"`
 }
 
 type Peer094 struct {
@@ -1335,11 +3710,36 @@ type Peer094 struct {
 }
 
 type Rec095 struct {
-	V    int64    `json:"v" protobuf:"varint,1,opt,name=v" thrift:"1"`
-	Next *Rec095  `json:"next,omitempty" protobuf:"bytes,2,opt,name=next" thrift:"2"`
-	Kids []Rec095 `json:"kids,omitempty" protobuf:"bytes,3,rep,name=kids" thrift:"3"`
-	Peer *Peer095 `json:"peer,omitempty" protobuf:"bytes,4,opt,name=peer" thrift:"4"`
-	S    string   `json:"s,omitempty" protobuf:"bytes,5,opt,name=s" thrift:"5"`
+	M    map[string]Peer095 `json:"m,omitempty" protobuf:"bytes,6,rep,name=m" protobuf_key:"bytes,1,opt,name=key" protobuf_val:"bytes,2,opt,name=value" thrift:"6"`
+	V    int64              `json:"v" protobuf:"varint,1,opt,name=v" thrift:"1"`
+	Next *Rec095            `json:"next,omitempty" protobuf:"bytes,2,opt,name=next" thrift:"2"`
+	Kids []Rec095           `json:"kids,omitempty" protobuf:"bytes,3,rep,name=kids" thrift:"3"`
+	Peer *Peer095           `json:"peer,omitempty" protobuf:"bytes,4,opt,name=peer" thrift:"4"`
+	S    string             `json:"s,omitempty" protobuf:"bytes,5,opt,name=s" thrift:"5"`
+	X00  int64              `json:"x0,omitempty" protobuf:"varint,20,opt,name=x0" thrift:"20"`
+	X01  int64              `json:"x1,omitempty" protobuf:"varint,21,opt,name=x1" thrift:"21"`
+	X02  int64              `json:"x2,omitempty" protobuf:"varint,22,opt,name=x2" thrift:"22"`
+	X03  int64              `json:"x3,omitempty" protobuf:"varint,23,opt,name=x3" thrift:"23"`
+	X04  int64              `json:"x4,omitempty" protobuf:"varint,24,opt,name=x4" thrift:"24"`
+	X05  int64              `json:"x5,omitempty" protobuf:"varint,25,opt,name=x5" thrift:"25"`
+	X06  int64              `json:"x6,omitempty" protobuf:"varint,26,opt,name=x6" thrift:"26"`
+	X07  int64              `json:"x7,omitempty" protobuf:"varint,27,opt,name=x7" thrift:"27"`
+	X08  int64              `json:"x8,omitempty" protobuf:"varint,28,opt,name=x8" thrift:"28"`
+	X09  int64              `json:"x9,omitempty" protobuf:"varint,29,opt,name=x9" thrift:"29"`
+	X10  int64              `json:"x10,omitempty" protobuf:"varint,30,opt,name=x10" thrift:"30"`
+	X11  int64              `json:"x11,omitempty" protobuf:"varint,31,opt,name=x11" thrift:"31"`
+	X12  int64              `json:"x12,omitempty" protobuf:"varint,32,opt,name=x12" thrift:"32"`
+	X13  int64              `json:"x13,omitempty" protobuf:"varint,33,opt,name=x13" thrift:"33"`
+	X14  int64              `json:"x14,omitempty" protobuf:"varint,34,opt,name=x14" thrift:"34"`
+	X15  int64              `json:"x15,omitempty" protobuf:"varint,35,opt,name=x15" thrift:"35"`
+	X16  int64              `json:"x16,omitempty" protobuf:"varint,36,opt,name=x16" thrift:"36"`
+	X17  int64              `json:"x17,omitempty" protobuf:"varint,37,opt,name=x17" thrift:"37"`
+	X18  int64              `json:"x18,omitempty" protobuf:"varint,38,opt,name=x18" thrift:"38"`
+	X19  int64              `json:"x19,omitempty" protobuf:"varint,39,opt,name=x19" thrift:"39"`
+	X20  int64              `json:"x20,omitempty" protobuf:"varint,40,opt,name=x20" thrift:"40"`
+	X21  int64              `json:"x21,omitempty" protobuf:"varint,41,opt,name=x21" thrift:"41"`
+	X22  int64              `json:"x22,omitempty" protobuf:"varint,42,opt,name=x22" thrift:"42"`
+	X23  int64              `json:"x23,omitempty" protobuf:"varint,43,opt,name=x23" thrift:"43"`
 }
 
 type Peer095 struct {
@@ -1349,11 +3749,36 @@ type Peer095 struct {
 }
 
 type Rec096 struct {
-	V    int64    `json:"v" protobuf:"varint,1,opt,name=v" thrift:"1"`
-	Next *Rec096  `json:"next,omitempty" protobuf:"bytes,2,opt,name=next" thrift:"2"`
-	Kids []Rec096 `json:"kids,omitempty" protobuf:"bytes,3,rep,name=kids" thrift:"3"`
-	Peer *Peer096 `json:"peer,omitempty" protobuf:"bytes,4,opt,name=peer" thrift:"4"`
-	S    string   `json:"s,omitempty" protobuf:"bytes,5,opt,name=s" thrift:"5"`
+	M    map[string]Peer096 `json:"m,omitempty" protobuf:"bytes,6,rep,name=m" protobuf_key:"bytes,1,opt,name=key" protobuf_val:"bytes,2,opt,name=value" thrift:"6"`
+	V    int64              `json:"v" protobuf:"varint,1,opt,name=v" thrift:"1"`
+	Next *Rec096            `json:"next,omitempty" protobuf:"bytes,2,opt,name=next" thrift:"2"`
+	Kids []Rec096           `json:"kids,omitempty" protobuf:"bytes,3,rep,name=kids" thrift:"3"`
+	Peer *Peer096           `json:"peer,omitempty" protobuf:"bytes,4,opt,name=peer" thrift:"4"`
+	S    string             `json:"s,omitempty" protobuf:"bytes,5,opt,name=s" thrift:"5"`
+	X00  int64              `json:"x0,omitempty" protobuf:"varint,20,opt,name=x0" thrift:"20"`
+	X01  int64              `json:"x1,omitempty" protobuf:"varint,21,opt,name=x1" thrift:"21"`
+	X02  int64              `json:"x2,omitempty" protobuf:"varint,22,opt,name=x2" thrift:"22"`
+	X03  int64              `json:"x3,omitempty" protobuf:"varint,23,opt,name=x3" thrift:"23"`
+	X04  int64              `json:"x4,omitempty" protobuf:"varint,24,opt,name=x4" thrift:"24"`
+	X05  int64              `json:"x5,omitempty" protobuf:"varint,25,opt,name=x5" thrift:"25"`
+	X06  int64              `json:"x6,omitempty" protobuf:"varint,26,opt,name=x6" thrift:"26"`
+	X07  int64              `json:"x7,omitempty" protobuf:"varint,27,opt,name=x7" thrift:"27"`
+	X08  int64              `json:"x8,omitempty" protobuf:"varint,28,opt,name=x8" thrift:"28"`
+	X09  int64              `json:"x9,omitempty" protobuf:"varint,29,opt,name=x9" thrift:"29"`
+	X10  int64              `json:"x10,omitempty" protobuf:"varint,30,opt,name=x10" thrift:"30"`
+	X11  int64              `json:"x11,omitempty" protobuf:"varint,31,opt,name=x11" thrift:"31"`
+	X12  int64              `json:"x12,omitempty" protobuf:"varint,32,opt,name=x12" thrift:"32"`
+	X13  int64              `json:"x13,omitempty" protobuf:"varint,33,opt,name=x13" thrift:"33"`
+	X14  int64              `json:"x14,omitempty" protobuf:"varint,34,opt,name=x14" thrift:"34"`
+	X15  int64              `json:"x15,omitempty" protobuf:"varint,35,opt,name=x15" thrift:"35"`
+	X16  int64              `json:"x16,omitempty" protobuf:"varint,36,opt,name=x16" thrift:"36"`
+	X17  int64              `json:"x17,omitempty" protobuf:"varint,37,opt,name=x17" thrift:"37"`
+	X18  int64              `json:"x18,omitempty" protobuf:"varint,38,opt,name=x18" thrift:"38"`
+	X19  int64              `json:"x19,omitempty" protobuf:"varint,39,opt,name=x19" thrift:"39"`
+	X20  int64              `json:"x20,omitempty" protobuf:"varint,40,opt,name=x20" thrift:"40"`
+	X21  int64              `json:"x21,omitempty" protobuf:"varint,41,opt,name=x21" thrift:"41"`
+	X22  int64              `json:"x22,omitempty" protobuf:"varint,42,opt,name=x22" thrift:"42"`
+	X23  int64              `json:"x23,omitempty" protobuf:"varint,43,opt,name=x23" thrift:"43"`
 }
 
 type Peer096 struct {
@@ -1363,11 +3788,36 @@ type Peer096 struct {
 }
 
 type Rec097 struct {
-	V    int64    `json:"v" protobuf:"varint,1,opt,name=v" thrift:"1"`
-	Next *Rec097  `json:"next,omitempty" protobuf:"bytes,2,opt,name=next" thrift:"2"`
-	Kids []Rec097 `json:"kids,omitempty" protobuf:"bytes,3,rep,name=kids" thrift:"3"`
-	Peer *Peer097 `json:"peer,omitempty" protobuf:"bytes,4,opt,name=peer" thrift:"4"`
-	S    string   `json:"s,omitempty" protobuf:"bytes,5,opt,name=s" thrift:"5"`
+	M    map[string]Peer097 `json:"m,omitempty" protobuf:"bytes,6,rep,name=m" protobuf_key:"bytes,1,opt,name=key" protobuf_val:"bytes,2,opt,name=value" thrift:"6"`
+	V    int64              `json:"v" protobuf:"varint,1,opt,name=v" thrift:"1"`
+	Next *Rec097            `json:"next,omitempty" protobuf:"bytes,2,opt,name=next" thrift:"2"`
+	Kids []Rec097           `json:"kids,omitempty" protobuf:"bytes,3,rep,name=kids" thrift:"3"`
+	Peer *Peer097           `json:"peer,omitempty" protobuf:"bytes,4,opt,name=peer" thrift:"4"`
+	S    string             `json:"s,omitempty" protobuf:"bytes,5,opt,name=s" thrift:"5"`
+	X00  int64              `json:"x0,omitempty" protobuf:"varint,20,opt,name=x0" thrift:"20"`
+	X01  int64              `json:"x1,omitempty" protobuf:"varint,21,opt,name=x1" thrift:"21"`
+	X02  int64              `json:"x2,omitempty" protobuf:"varint,22,opt,name=x2" thrift:"22"`
+	X03  int64              `json:"x3,omitempty" protobuf:"varint,23,opt,name=x3" thrift:"23"`
+	X04  int64              `json:"x4,omitempty" protobuf:"varint,24,opt,name=x4" thrift:"24"`
+	X05  int64              `json:"x5,omitempty" protobuf:"varint,25,opt,name=x5" thrift:"25"`
+	X06  int64              `json:"x6,omitempty" protobuf:"varint,26,opt,name=x6" thrift:"26"`
+	X07  int64              `json:"x7,omitempty" protobuf:"varint,27,opt,name=x7" thrift:"27"`
+	X08  int64              `json:"x8,omitempty" protobuf:"varint,28,opt,name=x8" thrift:"28"`
+	X09  int64              `json:"x9,omitempty" protobuf:"varint,29,opt,name=x9" thrift:"29"`
+	X10  int64              `json:"x10,omitempty" protobuf:"varint,30,opt,name=x10" thrift:"30"`
+	X11  int64              `json:"x11,omitempty" protobuf:"varint,31,opt,name=x11" thrift:"31"`
+	X12  int64              `json:"x12,omitempty" protobuf:"varint,32,opt,name=x12" thrift:"32"`
+	X13  int64              `json:"x13,omitempty" protobuf:"varint,33,opt,name=x13" thrift:"33"`
+	X14  int64              `json:"x14,omitempty" protobuf:"varint,34,opt,name=x14" thrift:"34"`
+	X15  int64              `json:"x15,omitempty" protobuf:"varint,35,opt,name=x15" thrift:"35"`
+	X16  int64              `json:"x16,omitempty" protobuf:"varint,36,opt,name=x16" thrift:"36"`
+	X17  int64              `json:"x17,omitempty" protobuf:"varint,37,opt,name=x17" thrift:"37"`
+	X18  int64              `json:"x18,omitempty" protobuf:"varint,38,opt,name=x18" thrift:"38"`
+	X19  int64              `json:"x19,omitempty" protobuf:"varint,39,opt,name=x19" thrift:"39"`
+	X20  int64              `json:"x20,omitempty" protobuf:"varint,40,opt,name=x20" thrift:"40"`
+	X21  int64              `json:"x21,omitempty" protobuf:"varint,41,opt,name=x21" thrift:"41"`
+	X22  int64              `json:"x22,omitempty" protobuf:"varint,42,opt,name=x22" thrift:"42"`
+	X23  int64              `json:"x23,omitempty" protobuf:"varint,43,opt,name=x23" thrift:"43"`
 }
 
 type Peer097 struct {
@@ -1377,11 +3827,36 @@ type Peer097 struct {
 }
 
 type Rec098 struct {
-	V    int64    `json:"v" protobuf:"varint,1,opt,name=v" thrift:"1"`
-	Next *Rec098  `json:"next,omitempty" protobuf:"bytes,2,opt,name=next" thrift:"2"`
-	Kids []Rec098 `json:"kids,omitempty" protobuf:"bytes,3,rep,name=kids" thrift:"3"`
-	Peer *Peer098 `json:"peer,omitempty" protobuf:"bytes,4,opt,name=peer" thrift:"4"`
-	S    string   `json:"s,omitempty" protobuf:"bytes,5,opt,name=s" thrift:"5"`
+	M    map[string]Peer098 `json:"m,omitempty" protobuf:"bytes,6,rep,name=m" protobuf_key:"bytes,1,opt,name=key" protobuf_val:"bytes,2,opt,name=value" thrift:"6"`
+	V    int64              `json:"v" protobuf:"varint,1,opt,name=v" thrift:"1"`
+	Next *Rec098            `json:"next,omitempty" protobuf:"bytes,2,opt,name=next" thrift:"2"`
+	Kids []Rec098           `json:"kids,omitempty" protobuf:"bytes,3,rep,name=kids" thrift:"3"`
+	Peer *Peer098           `json:"peer,omitempty" protobuf:"bytes,4,opt,name=peer" thrift:"4"`
+	S    string             `json:"s,omitempty" protobuf:"bytes,5,opt,name=s" thrift:"5"`
+	X00  int64              `json:"x0,omitempty" protobuf:"varint,20,opt,name=x0" thrift:"20"`
+	X01  int64              `json:"x1,omitempty" protobuf:"varint,21,opt,name=x1" thrift:"21"`
+	X02  int64              `json:"x2,omitempty" protobuf:"varint,22,opt,name=x2" thrift:"22"`
+	X03  int64              `json:"x3,omitempty" protobuf:"varint,23,opt,name=x3" thrift:"23"`
+	X04  int64              `json:"x4,omitempty" protobuf:"varint,24,opt,name=x4" thrift:"24"`
+	X05  int64              `json:"x5,omitempty" protobuf:"varint,25,opt,name=x5" thrift:"25"`
+	X06  int64              `json:"x6,omitempty" protobuf:"varint,26,opt,name=x6" thrift:"26"`
+	X07  int64              `json:"x7,omitempty" protobuf:"varint,27,opt,name=x7" thrift:"27"`
+	X08  int64              `json:"x8,omitempty" protobuf:"varint,28,opt,name=x8" thrift:"28"`
+	X09  int64              `json:"x9,omitempty" protobuf:"varint,29,opt,name=x9" thrift:"29"`
+	X10  int64              `json:"x10,omitempty" protobuf:"varint,30,opt,name=x10" thrift:"30"`
+	X11  int64              `json:"x11,omitempty" protobuf:"varint,31,opt,name=x11" thrift:"31"`
+	X12  int64              `json:"x12,omitempty" protobuf:"varint,32,opt,name=x12" thrift:"32"`
+	X13  int64              `json:"x13,omitempty" protobuf:"varint,33,opt,name=x13" thrift:"33"`
+	X14  int64              `json:"x14,omitempty" protobuf:"varint,34,opt,name=x14" thrift:"34"`
+	X15  int64              `json:"x15,omitempty" protobuf:"varint,35,opt,name=x15" thrift:"35"`
+	X16  int64              `json:"x16,omitempty" protobuf:"varint,36,opt,name=x16" thrift:"36"`
+	X17  int64              `json:"x17,omitempty" protobuf:"varint,37,opt,name=x17" thrift:"37"`
+	X18  int64              `json:"x18,omitempty" protobuf:"varint,38,opt,name=x18" thrift:"38"`
+	X19  int64              `json:"x19,omitempty" protobuf:"varint,39,opt,name=x19" thrift:"39"`
+	X20  int64              `json:"x20,omitempty" protobuf:"varint,40,opt,name=x20" thrift:"40"`
+	X21  int64              `json:"x21,omitempty" protobuf:"varint,41,opt,name=x21" thrift:"41"`
+	X22  int64              `json:"x22,omitempty" protobuf:"varint,42,opt,name=x22" thrift:"42"`
+	X23  int64              `json:"x23,omitempty" protobuf:"varint,43,opt,name=x23" thrift:"43"`
 }
 
 type Peer098 struct {
@@ -1391,11 +3866,36 @@ type Peer098 struct {
 }
 
 type Rec099 struct {
-	V    int64    `json:"v" protobuf:"varint,1,opt,name=v" thrift:"1"`
-	Next *Rec099  `json:"next,omitempty" protobuf:"bytes,2,opt,name=next" thrift:"2"`
-	Kids []Rec099 `json:"kids,omitempty" protobuf:"bytes,3,rep,name=kids" thrift:"3"`
-	Peer *Peer099 `json:"peer,omitempty" protobuf:"bytes,4,opt,name=peer" thrift:"4"`
-	S    string   `json:"s,omitempty" protobuf:"bytes,5,opt,name=s" thrift:"5"`
+	M    map[string]Peer099 `json:"m,omitempty" protobuf:"bytes,6,rep,name=m" protobuf_key:"bytes,1,opt,name=key" protobuf_val:"bytes,2,opt,name=value" thrift:"6"`
+	V    int64              `json:"v" protobuf:"varint,1,opt,name=v" thrift:"1"`
+	Next *Rec099            `json:"next,omitempty" protobuf:"bytes,2,opt,name=next" thrift:"2"`
+	Kids []Rec099           `json:"kids,omitempty" protobuf:"bytes,3,rep,name=kids" thrift:"3"`
+	Peer *Peer099           `json:"peer,omitempty" protobuf:"bytes,4,opt,name=peer" thrift:"4"`
+	S    string             `json:"s,omitempty" protobuf:"bytes,5,opt,name=s" thrift:"5"`
+	X00  int64              `json:"x0,omitempty" protobuf:"varint,20,opt,name=x0" thrift:"20"`
+	X01  int64              `json:"x1,omitempty" protobuf:"varint,21,opt,name=x1" thrift:"21"`
+	X02  int64              `json:"x2,omitempty" protobuf:"varint,22,opt,name=x2" thrift:"22"`
+	X03  int64              `json:"x3,omitempty" protobuf:"varint,23,opt,name=x3" thrift:"23"`
+	X04  int64              `json:"x4,omitempty" protobuf:"varint,24,opt,name=x4" thrift:"24"`
+	X05  int64              `json:"x5,omitempty" protobuf:"varint,25,opt,name=x5" thrift:"25"`
+	X06  int64              `json:"x6,omitempty" protobuf:"varint,26,opt,name=x6" thrift:"26"`
+	X07  int64              `json:"x7,omitempty" protobuf:"varint,27,opt,name=x7" thrift:"27"`
+	X08  int64              `json:"x8,omitempty" protobuf:"varint,28,opt,name=x8" thrift:"28"`
+	X09  int64              `json:"x9,omitempty" protobuf:"varint,29,opt,name=x9" thrift:"29"`
+	X10  int64              `json:"x10,omitempty" protobuf:"varint,30,opt,name=x10" thrift:"30"`
+	X11  int64              `json:"x11,omitempty" protobuf:"varint,31,opt,name=x11" thrift:"31"`
+	X12  int64              `json:"x12,omitempty" protobuf:"varint,32,opt,name=x12" thrift:"32"`
+	X13  int64              `json:"x13,omitempty" protobuf:"varint,33,opt,name=x13" thrift:"33"`
+	X14  int64              `json:"x14,omitempty" protobuf:"varint,34,opt,name=x14" thrift:"34"`
+	X15  int64              `json:"x15,omitempty" protobuf:"varint,35,opt,name=x15" thrift:"35"`
+	X16  int64              `json:"x16,omitempty" protobuf:"varint,36,opt,name=x16" thrift:"36"`
+	X17  int64              `json:"x17,omitempty" protobuf:"varint,37,opt,name=x17" thrift:"37"`
+	X18  int64              `json:"x18,omitempty" protobuf:"varint,38,opt,name=x18" thrift:"38"`
+	X19  int64              `json:"x19,omitempty" protobuf:"varint,39,opt,name=x19" thrift:"39"`
+	X20  int64              `json:"x20,omitempty" protobuf:"varint,40,opt,name=x20" thrift:"40"`
+	X21  int64              `json:"x21,omitempty" protobuf:"varint,41,opt,name=x21" thrift:"41"`
+	X22  int64              `json:"x22,omitempty" protobuf:"varint,42,opt,name=x22" thrift:"42"`
+	X23  int64              `json:"x23,omitempty" protobuf:"varint,43,opt,name=x23" thrift:"43"`
 }
 
 type Peer099 struct {
@@ -1405,11 +3905,36 @@ type Peer099 struct {
 }
 
 type Rec100 struct {
-	V    int64    `json:"v" protobuf:"varint,1,opt,name=v" thrift:"1"`
-	Next *Rec100  `json:"next,omitempty" protobuf:"bytes,2,opt,name=next" thrift:"2"`
-	Kids []Rec100 `json:"kids,omitempty" protobuf:"bytes,3,rep,name=kids" thrift:"3"`
-	Peer *Peer100 `json:"peer,omitempty" protobuf:"bytes,4,opt,name=peer" thrift:"4"`
-	S    string   `json:"s,omitempty" protobuf:"bytes,5,opt,name=s" thrift:"5"`
+	M    map[string]Peer100 `json:"m,omitempty" protobuf:"bytes,6,rep,name=m" protobuf_key:"bytes,1,opt,name=key" protobuf_val:"bytes,2,opt,name=value" thrift:"6"`
+	V    int64              `json:"v" protobuf:"varint,1,opt,name=v" thrift:"1"`
+	Next *Rec100            `json:"next,omitempty" protobuf:"bytes,2,opt,name=next" thrift:"2"`
+	Kids []Rec100           `json:"kids,omitempty" protobuf:"bytes,3,rep,name=kids" thrift:"3"`
+	Peer *Peer100           `json:"peer,omitempty" protobuf:"bytes,4,opt,name=peer" thrift:"4"`
+	S    string             `json:"s,omitempty" protobuf:"bytes,5,opt,name=s" thrift:"5"`
+	X00  int64              `json:"x0,omitempty" protobuf:"varint,20,opt,name=x0" thrift:"20"`
+	X01  int64              `json:"x1,omitempty" protobuf:"varint,21,opt,name=x1" thrift:"21"`
+	X02  int64              `json:"x2,omitempty" protobuf:"varint,22,opt,name=x2" thrift:"22"`
+	X03  int64              `json:"x3,omitempty" protobuf:"varint,23,opt,name=x3" thrift:"23"`
+	X04  int64              `json:"x4,omitempty" protobuf:"varint,24,opt,name=x4" thrift:"24"`
+	X05  int64              `json:"x5,omitempty" protobuf:"varint,25,opt,name=x5" thrift:"25"`
+	X06  int64              `json:"x6,omitempty" protobuf:"varint,26,opt,name=x6" thrift:"26"`
+	X07  int64              `json:"x7,omitempty" protobuf:"varint,27,opt,name=x7" thrift:"27"`
+	X08  int64              `json:"x8,omitempty" protobuf:"varint,28,opt,name=x8" thrift:"28"`
+	X09  int64              `json:"x9,omitempty" protobuf:"varint,29,opt,name=x9" thrift:"29"`
+	X10  int64              `json:"x10,omitempty" protobuf:"varint,30,opt,name=x10" thrift:"30"`
+	X11  int64              `json:"x11,omitempty" protobuf:"varint,31,opt,name=x11" thrift:"31"`
+	X12  int64              `json:"x12,omitempty" protobuf:"varint,32,opt,name=x12" thrift:"32"`
+	X13  int64              `json:"x13,omitempty" protobuf:"varint,33,opt,name=x13" thrift:"33"`
+	X14  int64              `json:"x14,omitempty" protobuf:"varint,34,opt,name=x14" thrift:"34"`
+	X15  int64              `json:"x15,omitempty" protobuf:"varint,35,opt,name=x15" thrift:"35"`
+	X16  int64              `json:"x16,omitempty" protobuf:"varint,36,opt,name=x16" thrift:"36"`
+	X17  int64              `json:"x17,omitempty" protobuf:"varint,37,opt,name=x17" thrift:"37"`
+	X18  int64              `json:"x18,omitempty" protobuf:"varint,38,opt,name=x18" thrift:"38"`
+	X19  int64              `json:"x19,omitempty" protobuf:"varint,39,opt,name=x19" thrift:"39"`
+	X20  int64              `json:"x20,omitempty" protobuf:"varint,40,opt,name=x20" thrift:"40"`
+	X21  int64              `json:"x21,omitempty" protobuf:"varint,41,opt,name=x21" thrift:"41"`
+	X22  int64              `json:"x22,omitempty" protobuf:"varint,42,opt,name=x22" thrift:"42"`
+	X23  int64              `json:"x23,omitempty" protobuf:"varint,43,opt,name=x23" thrift:"43"`
 }
 
 type Peer100 struct {
@@ -1419,11 +3944,36 @@ type Peer100 struct {
 }
 
 type Rec101 struct {
-	V    int64    `json:"v" protobuf:"varint,1,opt,name=v" thrift:"1"`
-	Next *Rec101  `json:"next,omitempty" protobuf:"bytes,2,opt,name=next" thrift:"2"`
-	Kids []Rec101 `json:"kids,omitempty" protobuf:"bytes,3,rep,name=kids" thrift:"3"`
-	Peer *Peer101 `json:"peer,omitempty" protobuf:"bytes,4,opt,name=peer" thrift:"4"`
-	S    string   `json:"s,omitempty" protobuf:"bytes,5,opt,name=s" thrift:"5"`
+	M    map[string]Peer101 `json:"m,omitempty" protobuf:"bytes,6,rep,name=m" protobuf_key:"bytes,1,opt,name=key" protobuf_val:"bytes,2,opt,name=value" thrift:"6"`
+	V    int64              `json:"v" protobuf:"varint,1,opt,name=v" thrift:"1"`
+	Next *Rec101            `json:"next,omitempty" protobuf:"bytes,2,opt,name=next" thrift:"2"`
+	Kids []Rec101           `json:"kids,omitempty" protobuf:"bytes,3,rep,name=kids" thrift:"3"`
+	Peer *Peer101           `json:"peer,omitempty" protobuf:"bytes,4,opt,name=peer" thrift:"4"`
+	S    string             `json:"s,omitempty" protobuf:"bytes,5,opt,name=s" thrift:"5"`
+	X00  int64              `json:"x0,omitempty" protobuf:"varint,20,opt,name=x0" thrift:"20"`
+	X01  int64              `json:"x1,omitempty" protobuf:"varint,21,opt,name=x1" thrift:"21"`
+	X02  int64              `json:"x2,omitempty" protobuf:"varint,22,opt,name=x2" thrift:"22"`
+	X03  int64              `json:"x3,omitempty" protobuf:"varint,23,opt,name=x3" thrift:"23"`
+	X04  int64              `json:"x4,omitempty" protobuf:"varint,24,opt,name=x4" thrift:"24"`
+	X05  int64              `json:"x5,omitempty" protobuf:"varint,25,opt,name=x5" thrift:"25"`
+	X06  int64              `json:"x6,omitempty" protobuf:"varint,26,opt,name=x6" thrift:"26"`
+	X07  int64              `json:"x7,omitempty" protobuf:"varint,27,opt,name=x7" thrift:"27"`
+	X08  int64              `json:"x8,omitempty" protobuf:"varint,28,opt,name=x8" thrift:"28"`
+	X09  int64              `json:"x9,omitempty" protobuf:"varint,29,opt,name=x9" thrift:"29"`
+	X10  int64              `json:"x10,omitempty" protobuf:"varint,30,opt,name=x10" thrift:"30"`
+	X11  int64              `json:"x11,omitempty" protobuf:"varint,31,opt,name=x11" thrift:"31"`
+	X12  int64              `json:"x12,omitempty" protobuf:"varint,32,opt,name=x12" thrift:"32"`
+	X13  int64              `json:"x13,omitempty" protobuf:"varint,33,opt,name=x13" thrift:"33"`
+	X14  int64              `json:"x14,omitempty" protobuf:"varint,34,opt,name=x14" thrift:"34"`
+	X15  int64              `json:"x15,omitempty" protobuf:"varint,35,opt,name=x15" thrift:"35"`
+	X16  int64              `json:"x16,omitempty" protobuf:"varint,36,opt,name=x16" thrift:"36"`
+	X17  int64              `json:"x17,omitempty" protobuf:"varint,37,opt,name=x17" thrift:"37"`
+	X18  int64              `json:"x18,omitempty" protobuf:"varint,38,opt,name=x18" thrift:"38"`
+	X19  int64              `json:"x19,omitempty" protobuf:"varint,39,opt,name=x19" thrift:"39"`
+	X20  int64              `json:"x20,omitempty" protobuf:"varint,40,opt,name=x20" thrift:"40"`
+	X21  int64              `json:"x21,omitempty" protobuf:"varint,41,opt,name=x21" thrift:"41"`
+	X22  int64              `json:"x22,omitempty" protobuf:"varint,42,opt,name=x22" thrift:"42"`
+	X23  int64              `json:"x23,omitempty" protobuf:"varint,43,opt,name=x23" thrift:"43"`
 }
 
 type Peer101 struct {
@@ -1433,11 +3983,36 @@ type Peer101 struct {
 }
 
 type Rec102 struct {
-	V    int64    `json:"v" protobuf:"varint,1,opt,name=v" thrift:"1"`
-	Next *Rec102  `json:"next,omitempty" protobuf:"bytes,2,opt,name=next" thrift:"2"`
-	Kids []Rec102 `json:"kids,omitempty" protobuf:"bytes,3,rep,name=kids" thrift:"3"`
-	Peer *Peer102 `json:"peer,omitempty" protobuf:"bytes,4,opt,name=peer" thrift:"4"`
-	S    string   `json:"s,omitempty" protobuf:"bytes,5,opt,name=s" thrift:"5"`
+	M    map[string]Peer102 `json:"m,omitempty" protobuf:"bytes,6,rep,name=m" protobuf_key:"bytes,1,opt,name=key" protobuf_val:"bytes,2,opt,name=value" thrift:"6"`
+	V    int64              `json:"v" protobuf:"varint,1,opt,name=v" thrift:"1"`
+	Next *Rec102            `json:"next,omitempty" protobuf:"bytes,2,opt,name=next" thrift:"2"`
+	Kids []Rec102           `json:"kids,omitempty" protobuf:"bytes,3,rep,name=kids" thrift:"3"`
+	Peer *Peer102           `json:"peer,omitempty" protobuf:"bytes,4,opt,name=peer" thrift:"4"`
+	S    string             `json:"s,omitempty" protobuf:"bytes,5,opt,name=s" thrift:"5"`
+	X00  int64              `json:"x0,omitempty" protobuf:"varint,20,opt,name=x0" thrift:"20"`
+	X01  int64              `json:"x1,omitempty" protobuf:"varint,21,opt,name=x1" thrift:"21"`
+	X02  int64              `json:"x2,omitempty" protobuf:"varint,22,opt,name=x2" thrift:"22"`
+	X03  int64              `json:"x3,omitempty" protobuf:"varint,23,opt,name=x3" thrift:"23"`
+	X04  int64              `json:"x4,omitempty" protobuf:"varint,24,opt,name=x4" thrift:"24"`
+	X05  int64              `json:"x5,omitempty" protobuf:"varint,25,opt,name=x5" thrift:"25"`
+	X06  int64              `json:"x6,omitempty" protobuf:"varint,26,opt,name=x6" thrift:"26"`
+	X07  int64              `json:"x7,omitempty" protobuf:"varint,27,opt,name=x7" thrift:"27"`
+	X08  int64              `json:"x8,omitempty" protobuf:"varint,28,opt,name=x8" thrift:"28"`
+	X09  int64              `json:"x9,omitempty" protobuf:"varint,29,opt,name=x9" thrift:"29"`
+	X10  int64              `json:"x10,omitempty" protobuf:"varint,30,opt,name=x10" thrift:"30"`
+	X11  int64              `json:"x11,omitempty" protobuf:"varint,31,opt,name=x11" thrift:"31"`
+	X12  int64              `json:"x12,omitempty" protobuf:"varint,32,opt,name=x12" thrift:"32"`
+	X13  int64              `json:"x13,omitempty" protobuf:"varint,33,opt,name=x13" thrift:"33"`
+	X14  int64              `json:"x14,omitempty" protobuf:"varint,34,opt,name=x14" thrift:"34"`
+	X15  int64              `json:"x15,omitempty" protobuf:"varint,35,opt,name=x15" thrift:"35"`
+	X16  int64              `json:"x16,omitempty" protobuf:"varint,36,opt,name=x16" thrift:"36"`
+	X17  int64              `json:"x17,omitempty" protobuf:"varint,37,opt,name=x17" thrift:"37"`
+	X18  int64              `json:"x18,omitempty" protobuf:"varint,38,opt,name=x18" thrift:"38"`
+	X19  int64              `json:"x19,omitempty" protobuf:"varint,39,opt,name=x19" thrift:"39"`
+	X20  int64              `json:"x20,omitempty" protobuf:"varint,40,opt,name=x20" thrift:"40"`
+	X21  int64              `json:"x21,omitempty" protobuf:"varint,41,opt,name=x21" thrift:"41"`
+	X22  int64              `json:"x22,omitempty" protobuf:"varint,42,opt,name=x22" thrift:"42"`
+	X23  int64              `json:"x23,omitempty" protobuf:"varint,43,opt,name=x23" thrift:"43"`
 }
 
 type Peer102 struct {
@@ -1447,11 +4022,36 @@ type Peer102 struct {
 }
 
 type Rec103 struct {
-	V    int64    `json:"v" protobuf:"varint,1,opt,name=v" thrift:"1"`
-	Next *Rec103  `json:"next,omitempty" protobuf:"bytes,2,opt,name=next" thrift:"2"`
-	Kids []Rec103 `json:"kids,omitempty" protobuf:"bytes,3,rep,name=kids" thrift:"3"`
-	Peer *Peer103 `json:"peer,omitempty" protobuf:"bytes,4,opt,name=peer" thrift:"4"`
-	S    string   `json:"s,omitempty" protobuf:"bytes,5,opt,name=s" thrift:"5"`
+	M    map[string]Peer103 `json:"m,omitempty" protobuf:"bytes,6,rep,name=m" protobuf_key:"bytes,1,opt,name=key" protobuf_val:"bytes,2,opt,name=value" thrift:"6"`
+	V    int64              `json:"v" protobuf:"varint,1,opt,name=v" thrift:"1"`
+	Next *Rec103            `json:"next,omitempty" protobuf:"bytes,2,opt,name=next" thrift:"2"`
+	Kids []Rec103           `json:"kids,omitempty" protobuf:"bytes,3,rep,name=kids" thrift:"3"`
+	Peer *Peer103           `json:"peer,omitempty" protobuf:"bytes,4,opt,name=peer" thrift:"4"`
+	S    string             `json:"s,omitempty" protobuf:"bytes,5,opt,name=s" thrift:"5"`
+	X00  int64              `json:"x0,omitempty" protobuf:"varint,20,opt,name=x0" thrift:"20"`
+	X01  int64              `json:"x1,omitempty" protobuf:"varint,21,opt,name=x1" thrift:"21"`
+	X02  int64              `json:"x2,omitempty" protobuf:"varint,22,opt,name=x2" thrift:"22"`
+	X03  int64              `json:"x3,omitempty" protobuf:"varint,23,opt,name=x3" thrift:"23"`
+	X04  int64              `json:"x4,omitempty" protobuf:"varint,24,opt,name=x4" thrift:"24"`
+	X05  int64              `json:"x5,omitempty" protobuf:"varint,25,opt,name=x5" thrift:"25"`
+	X06  int64              `json:"x6,omitempty" protobuf:"varint,26,opt,name=x6" thrift:"26"`
+	X07  int64              `json:"x7,omitempty" protobuf:"varint,27,opt,name=x7" thrift:"27"`
+	X08  int64              `json:"x8,omitempty" protobuf:"varint,28,opt,name=x8" thrift:"28"`
+	X09  int64              `json:"x9,omitempty" protobuf:"varint,29,opt,name=x9" thrift:"29"`
+	X10  int64              `json:"x10,omitempty" protobuf:"varint,30,opt,name=x10" thrift:"30"`
+	X11  int64              `json:"x11,omitempty" protobuf:"varint,31,opt,name=x11" thrift:"31"`
+	X12  int64              `json:"x12,omitempty" protobuf:"varint,32,opt,name=x12" thrift:"32"`
+	X13  int64              `json:"x13,omitempty" protobuf:"varint,33,opt,name=x13" thrift:"33"`
+	X14  int64              `json:"x14,omitempty" protobuf:"varint,34,opt,name=x14" thrift:"34"`
+	X15  int64              `json:"x15,omitempty" protobuf:"varint,35,opt,name=x15" thrift:"35"`
+	X16  int64              `json:"x16,omitempty" protobuf:"varint,36,opt,name=x16" thrift:"36"`
+	X17  int64              `json:"x17,omitempty" protobuf:"varint,37,opt,name=x17" thrift:"37"`
+	X18  int64              `json:"x18,omitempty" protobuf:"varint,38,opt,name=x18" thrift:"38"`
+	X19  int64              `json:"x19,omitempty" protobuf:"varint,39,opt,name=x19" thrift:"39"`
+	X20  int64              `json:"x20,omitempty" protobuf:"varint,40,opt,name=x20" thrift:"40"`
+	X21  int64              `json:"x21,omitempty" protobuf:"varint,41,opt,name=x21" thrift:"41"`
+	X22  int64              `json:"x22,omitempty" protobuf:"varint,42,opt,name=x22" thrift:"42"`
+	X23  int64              `json:"x23,omitempty" protobuf:"varint,43,opt,name=x23" thrift:"43"`
 }
 
 type Peer103 struct {
@@ -1461,11 +4061,36 @@ type Peer103 struct {
 }
 
 type Rec104 struct {
-	V    int64    `json:"v" protobuf:"varint,1,opt,name=v" thrift:"1"`
-	Next *Rec104  `json:"next,omitempty" protobuf:"bytes,2,opt,name=next" thrift:"2"`
-	Kids []Rec104 `json:"kids,omitempty" protobuf:"bytes,3,rep,name=kids" thrift:"3"`
-	Peer *Peer104 `json:"peer,omitempty" protobuf:"bytes,4,opt,name=peer" thrift:"4"`
-	S    string   `json:"s,omitempty" protobuf:"bytes,5,opt,name=s" thrift:"5"`
+	M    map[string]Peer104 `json:"m,omitempty" protobuf:"bytes,6,rep,name=m" protobuf_key:"bytes,1,opt,name=key" protobuf_val:"bytes,2,opt,name=value" thrift:"6"`
+	V    int64              `json:"v" protobuf:"varint,1,opt,name=v" thrift:"1"`
+	Next *Rec104            `json:"next,omitempty" protobuf:"bytes,2,opt,name=next" thrift:"2"`
+	Kids []Rec104           `json:"kids,omitempty" protobuf:"bytes,3,rep,name=kids" thrift:"3"`
+	Peer *Peer104           `json:"peer,omitempty" protobuf:"bytes,4,opt,name=peer" thrift:"4"`
+	S    string             `json:"s,omitempty" protobuf:"bytes,5,opt,name=s" thrift:"5"`
+	X00  int64              `json:"x0,omitempty" protobuf:"varint,20,opt,name=x0" thrift:"20"`
+	X01  int64              `json:"x1,omitempty" protobuf:"varint,21,opt,name=x1" thrift:"21"`
+	X02  int64              `json:"x2,omitempty" protobuf:"varint,22,opt,name=x2" thrift:"22"`
+	X03  int64              `json:"x3,omitempty" protobuf:"varint,23,opt,name=x3" thrift:"23"`
+	X04  int64              `json:"x4,omitempty" protobuf:"varint,24,opt,name=x4" thrift:"24"`
+	X05  int64              `json:"x5,omitempty" protobuf:"varint,25,opt,name=x5" thrift:"25"`
+	X06  int64              `json:"x6,omitempty" protobuf:"varint,26,opt,name=x6" thrift:"26"`
+	X07  int64              `json:"x7,omitempty" protobuf:"varint,27,opt,name=x7" thrift:"27"`
+	X08  int64              `json:"x8,omitempty" protobuf:"varint,28,opt,name=x8" thrift:"28"`
+	X09  int64              `json:"x9,omitempty" protobuf:"varint,29,opt,name=x9" thrift:"29"`
+	X10  int64              `json:"x10,omitempty" protobuf:"varint,30,opt,name=x10" thrift:"30"`
+	X11  int64              `json:"x11,omitempty" protobuf:"varint,31,opt,name=x11" thrift:"31"`
+	X12  int64              `json:"x12,omitempty" protobuf:"varint,32,opt,name=x12" thrift:"32"`
+	X13  int64              `json:"x13,omitempty" protobuf:"varint,33,opt,name=x13" thrift:"33"`
+	X14  int64              `json:"x14,omitempty" protobuf:"varint,34,opt,name=x14" thrift:"34"`
+	X15  int64              `json:"x15,omitempty" protobuf:"varint,35,opt,name=x15" thrift:"35"`
+	X16  int64              `json:"x16,omitempty" protobuf:"varint,36,opt,name=x16" thrift:"36"`
+	X17  int64              `json:"x17,omitempty" protobuf:"varint,37,opt,name=x17" thrift:"37"`
+	X18  int64              `json:"x18,omitempty" protobuf:"varint,38,opt,name=x18" thrift:"38"`
+	X19  int64              `json:"x19,omitempty" protobuf:"varint,39,opt,name=x19" thrift:"39"`
+	X20  int64              `json:"x20,omitempty" protobuf:"varint,40,opt,name=x20" thrift:"40"`
+	X21  int64              `json:"x21,omitempty" protobuf:"varint,41,opt,name=x21" thrift:"41"`
+	X22  int64              `json:"x22,omitempty" protobuf:"varint,42,opt,name=x22" thrift:"42"`
+	X23  int64              `json:"x23,omitempty" protobuf:"varint,43,opt,name=x23" thrift:"43"`
 }
 
 type Peer104 struct {
@@ -1475,11 +4100,36 @@ type Peer104 struct {
 }
 
 type Rec105 struct {
-	V    int64    `json:"v" protobuf:"varint,1,opt,name=v" thrift:"1"`
-	Next *Rec105  `json:"next,omitempty" protobuf:"bytes,2,opt,name=next" thrift:"2"`
-	Kids []Rec105 `json:"kids,omitempty" protobuf:"bytes,3,rep,name=kids" thrift:"3"`
-	Peer *Peer105 `json:"peer,omitempty" protobuf:"bytes,4,opt,name=peer" thrift:"4"`
-	S    string   `json:"s,omitempty" protobuf:"bytes,5,opt,name=s" thrift:"5"`
+	M    map[string]Peer105 `json:"m,omitempty" protobuf:"bytes,6,rep,name=m" protobuf_key:"bytes,1,opt,name=key" protobuf_val:"bytes,2,opt,name=value" thrift:"6"`
+	V    int64              `json:"v" protobuf:"varint,1,opt,name=v" thrift:"1"`
+	Next *Rec105            `json:"next,omitempty" protobuf:"bytes,2,opt,name=next" thrift:"2"`
+	Kids []Rec105           `json:"kids,omitempty" protobuf:"bytes,3,rep,name=kids" thrift:"3"`
+	Peer *Peer105           `json:"peer,omitempty" protobuf:"bytes,4,opt,name=peer" thrift:"4"`
+	S    string             `json:"s,omitempty" protobuf:"bytes,5,opt,name=s" thrift:"5"`
+	X00  int64              `json:"x0,omitempty" protobuf:"varint,20,opt,name=x0" thrift:"20"`
+	X01  int64              `json:"x1,omitempty" protobuf:"varint,21,opt,name=x1" thrift:"21"`
+	X02  int64              `json:"x2,omitempty" protobuf:"varint,22,opt,name=x2" thrift:"22"`
+	X03  int64              `json:"x3,omitempty" protobuf:"varint,23,opt,name=x3" thrift:"23"`
+	X04  int64              `json:"x4,omitempty" protobuf:"varint,24,opt,name=x4" thrift:"24"`
+	X05  int64              `json:"x5,omitempty" protobuf:"varint,25,opt,name=x5" thrift:"25"`
+	X06  int64              `json:"x6,omitempty" protobuf:"varint,26,opt,name=x6" thrift:"26"`
+	X07  int64              `json:"x7,omitempty" protobuf:"varint,27,opt,name=x7" thrift:"27"`
+	X08  int64              `json:"x8,omitempty" protobuf:"varint,28,opt,name=x8" thrift:"28"`
+	X09  int64              `json:"x9,omitempty" protobuf:"varint,29,opt,name=x9" thrift:"29"`
+	X10  int64              `json:"x10,omitempty" protobuf:"varint,30,opt,name=x10" thrift:"30"`
+	X11  int64              `json:"x11,omitempty" protobuf:"varint,31,opt,name=x11" thrift:"31"`
+	X12  int64              `json:"x12,omitempty" protobuf:"varint,32,opt,name=x12" thrift:"32"`
+	X13  int64              `json:"x13,omitempty" protobuf:"varint,33,opt,name=x13" thrift:"33"`
+	X14  int64              `json:"x14,omitempty" protobuf:"varint,34,opt,name=x14" thrift:"34"`
+	X15  int64              `json:"x15,omitempty" protobuf:"varint,35,opt,name=x15" thrift:"35"`
+	X16  int64              `json:"x16,omitempty" protobuf:"varint,36,opt,name=x16" thrift:"36"`
+	X17  int64              `json:"x17,omitempty" protobuf:"varint,37,opt,name=x17" thrift:"37"`
+	X18  int64              `json:"x18,omitempty" protobuf:"varint,38,opt,name=x18" thrift:"38"`
+	X19  int64              `json:"x19,omitempty" protobuf:"varint,39,opt,name=x19" thrift:"39"`
+	X20  int64              `json:"x20,omitempty" protobuf:"varint,40,opt,name=x20" thrift:"40"`
+	X21  int64              `json:"x21,omitempty" protobuf:"varint,41,opt,name=x21" thrift:"41"`
+	X22  int64              `json:"x22,omitempty" protobuf:"varint,42,opt,name=x22" thrift:"42"`
+	X23  int64              `json:"x23,omitempty" protobuf:"varint,43,opt,name=x23" thrift:"43"`
 }
 
 type Peer105 struct {
@@ -1489,11 +4139,36 @@ type Peer105 struct {
 }
 
 type Rec106 struct {
-	V    int64    `json:"v" protobuf:"varint,1,opt,name=v" thrift:"1"`
-	Next *Rec106  `json:"next,omitempty" protobuf:"bytes,2,opt,name=next" thrift:"2"`
-	Kids []Rec106 `json:"kids,omitempty" protobuf:"bytes,3,rep,name=kids" thrift:"3"`
-	Peer *Peer106 `json:"peer,omitempty" protobuf:"bytes,4,opt,name=peer" thrift:"4"`
-	S    string   `json:"s,omitempty" protobuf:"bytes,5,opt,name=s" thrift:"5"`
+	M    map[string]Peer106 `json:"m,omitempty" protobuf:"bytes,6,rep,name=m" protobuf_key:"bytes,1,opt,name=key" protobuf_val:"bytes,2,opt,name=value" thrift:"6"`
+	V    int64              `json:"v" protobuf:"varint,1,opt,name=v" thrift:"1"`
+	Next *Rec106            `json:"next,omitempty" protobuf:"bytes,2,opt,name=next" thrift:"2"`
+	Kids []Rec106           `json:"kids,omitempty" protobuf:"bytes,3,rep,name=kids" thrift:"3"`
+	Peer *Peer106           `json:"peer,omitempty" protobuf:"bytes,4,opt,name=peer" thrift:"4"`
+	S    string             `json:"s,omitempty" protobuf:"bytes,5,opt,name=s" thrift:"5"`
+	X00  int64              `json:"x0,omitempty" protobuf:"varint,20,opt,name=x0" thrift:"20"`
+	X01  int64              `json:"x1,omitempty" protobuf:"varint,21,opt,name=x1" thrift:"21"`
+	X02  int64              `json:"x2,omitempty" protobuf:"varint,22,opt,name=x2" thrift:"22"`
+	X03  int64              `json:"x3,omitempty" protobuf:"varint,23,opt,name=x3" thrift:"23"`
+	X04  int64              `json:"x4,omitempty" protobuf:"varint,24,opt,name=x4" thrift:"24"`
+	X05  int64              `json:"x5,omitempty" protobuf:"varint,25,opt,name=x5" thrift:"25"`
+	X06  int64              `json:"x6,omitempty" protobuf:"varint,26,opt,name=x6" thrift:"26"`
+	X07  int64              `json:"x7,omitempty" protobuf:"varint,27,opt,name=x7" thrift:"27"`
+	X08  int64              `json:"x8,omitempty" protobuf:"varint,28,opt,name=x8" thrift:"28"`
+	X09  int64              `json:"x9,omitempty" protobuf:"varint,29,opt,name=x9" thrift:"29"`
+	X10  int64              `json:"x10,omitempty" protobuf:"varint,30,opt,name=x10" thrift:"30"`
+	X11  int64              `json:"x11,omitempty" protobuf:"varint,31,opt,name=x11" thrift:"31"`
+	X12  int64              `json:"x12,omitempty" protobuf:"varint,32,opt,name=x12" thrift:"32"`
+	X13  int64              `json:"x13,omitempty" protobuf:"varint,33,opt,name=x13" thrift:"33"`
+	X14  int64              `json:"x14,omitempty" protobuf:"varint,34,opt,name=x14" thrift:"34"`
+	X15  int64              `json:"x15,omitempty" protobuf:"varint,35,opt,name=x15" thrift:"35"`
+	X16  int64              `json:"x16,omitempty" protobuf:"varint,36,opt,name=x16" thrift:"36"`
+	X17  int64              `json:"x17,omitempty" protobuf:"varint,37,opt,name=x17" thrift:"37"`
+	X18  int64              `json:"x18,omitempty" protobuf:"varint,38,opt,name=x18" thrift:"38"`
+	X19  int64              `json:"x19,omitempty" protobuf:"varint,39,opt,name=x19" thrift:"39"`
+	X20  int64              `json:"x20,omitempty" protobuf:"varint,40,opt,name=x20" thrift:"40"`
+	X21  int64              `json:"x21,omitempty" protobuf:"varint,41,opt,name=x21" thrift:"41"`
+	X22  int64              `json:"x22,omitempty" protobuf:"varint,42,opt,name=x22" thrift:"42"`
+	X23  int64              `json:"x23,omitempty" protobuf:"varint,43,opt,name=x23" thrift:"43"`
 }
 
 type Peer106 struct {
@@ -1503,11 +4178,36 @@ type Peer106 struct {
 }
 
 type Rec107 struct {
-	V    int64    `json:"v" protobuf:"varint,1,opt,name=v" thrift:"1"`
-	Next *Rec107  `json:"next,omitempty" protobuf:"bytes,2,opt,name=next" thrift:"2"`
-	Kids []Rec107 `json:"kids,omitempty" protobuf:"bytes,3,rep,name=kids" thrift:"3"`
-	Peer *Peer107 `json:"peer,omitempty" protobuf:"bytes,4,opt,name=peer" thrift:"4"`
-	S    string   `json:"s,omitempty" protobuf:"bytes,5,opt,name=s" thrift:"5"`
+	M    map[string]Peer107 `json:"m,omitempty" protobuf:"bytes,6,rep,name=m" protobuf_key:"bytes,1,opt,name=key" protobuf_val:"bytes,2,opt,name=value" thrift:"6"`
+	V    int64              `json:"v" protobuf:"varint,1,opt,name=v" thrift:"1"`
+	Next *Rec107            `json:"next,omitempty" protobuf:"bytes,2,opt,name=next" thrift:"2"`
+	Kids []Rec107           `json:"kids,omitempty" protobuf:"bytes,3,rep,name=kids" thrift:"3"`
+	Peer *Peer107           `json:"peer,omitempty" protobuf:"bytes,4,opt,name=peer" thrift:"4"`
+	S    string             `json:"s,omitempty" protobuf:"bytes,5,opt,name=s" thrift:"5"`
+	X00  int64              `json:"x0,omitempty" protobuf:"varint,20,opt,name=x0" thrift:"20"`
+	X01  int64              `json:"x1,omitempty" protobuf:"varint,21,opt,name=x1" thrift:"21"`
+	X02  int64              `json:"x2,omitempty" protobuf:"varint,22,opt,name=x2" thrift:"22"`
+	X03  int64              `json:"x3,omitempty" protobuf:"varint,23,opt,name=x3" thrift:"23"`
+	X04  int64              `json:"x4,omitempty" protobuf:"varint,24,opt,name=x4" thrift:"24"`
+	X05  int64              `json:"x5,omitempty" protobuf:"varint,25,opt,name=x5" thrift:"25"`
+	X06  int64              `json:"x6,omitempty" protobuf:"varint,26,opt,name=x6" thrift:"26"`
+	X07  int64              `json:"x7,omitempty" protobuf:"varint,27,opt,name=x7" thrift:"27"`
+	X08  int64              `json:"x8,omitempty" protobuf:"varint,28,opt,name=x8" thrift:"28"`
+	X09  int64              `json:"x9,omitempty" protobuf:"varint,29,opt,name=x9" thrift:"29"`
+	X10  int64              `json:"x10,omitempty" protobuf:"varint,30,opt,name=x10" thrift:"30"`
+	X11  int64              `json:"x11,omitempty" protobuf:"varint,31,opt,name=x11" thrift:"31"`
+	X12  int64              `json:"x12,omitempty" protobuf:"varint,32,opt,name=x12" thrift:"32"`
+	X13  int64              `json:"x13,omitempty" protobuf:"varint,33,opt,name=x13" thrift:"33"`
+	X14  int64              `json:"x14,omitempty" protobuf:"varint,34,opt,name=x14" thrift:"34"`
+	X15  int64              `json:"x15,omitempty" protobuf:"varint,35,opt,name=x15" thrift:"35"`
+	X16  int64              `json:"x16,omitempty" protobuf:"varint,36,opt,name=x16" thrift:"36"`
+	X17  int64              `json:"x17,omitempty" protobuf:"varint,37,opt,name=x17" thrift:"37"`
+	X18  int64              `json:"x18,omitempty" protobuf:"varint,38,opt,name=x18" thrift:"38"`
+	X19  int64              `json:"x19,omitempty" protobuf:"varint,39,opt,name=x19" thrift:"39"`
+	X20  int64              `json:"x20,omitempty" protobuf:"varint,40,opt,name=x20" thrift:"40"`
+	X21  int64              `json:"x21,omitempty" protobuf:"varint,41,opt,name=x21" thrift:"41"`
+	X22  int64              `json:"x22,omitempty" protobuf:"varint,42,opt,name=x22" thrift:"42"`
+	X23  int64              `json:"x23,omitempty" protobuf:"varint,43,opt,name=x23" thrift:"43"`
 }
 
 type Peer107 struct {
@@ -1517,11 +4217,36 @@ type Peer107 struct {
 }
 
 type Rec108 struct {
-	V    int64    `json:"v" protobuf:"varint,1,opt,name=v" thrift:"1"`
-	Next *Rec108  `json:"next,omitempty" protobuf:"bytes,2,opt,name=next" thrift:"2"`
-	Kids []Rec108 `json:"kids,omitempty" protobuf:"bytes,3,rep,name=kids" thrift:"3"`
-	Peer *Peer108 `json:"peer,omitempty" protobuf:"bytes,4,opt,name=peer" thrift:"4"`
-	S    string   `json:"s,omitempty" protobuf:"bytes,5,opt,name=s" thrift:"5"`
+	M    map[string]Peer108 `json:"m,omitempty" protobuf:"bytes,6,rep,name=m" protobuf_key:"bytes,1,opt,name=key" protobuf_val:"bytes,2,opt,name=value" thrift:"6"`
+	V    int64              `json:"v" protobuf:"varint,1,opt,name=v" thrift:"1"`
+	Next *Rec108            `json:"next,omitempty" protobuf:"bytes,2,opt,name=next" thrift:"2"`
+	Kids []Rec108           `json:"kids,omitempty" protobuf:"bytes,3,rep,name=kids" thrift:"3"`
+	Peer *Peer108           `json:"peer,omitempty" protobuf:"bytes,4,opt,name=peer" thrift:"4"`
+	S    string             `json:"s,omitempty" protobuf:"bytes,5,opt,name=s" thrift:"5"`
+	X00  int64              `json:"x0,omitempty" protobuf:"varint,20,opt,name=x0" thrift:"20"`
+	X01  int64              `json:"x1,omitempty" protobuf:"varint,21,opt,name=x1" thrift:"21"`
+	X02  int64              `json:"x2,omitempty" protobuf:"varint,22,opt,name=x2" thrift:"22"`
+	X03  int64              `json:"x3,omitempty" protobuf:"varint,23,opt,name=x3" thrift:"23"`
+	X04  int64              `json:"x4,omitempty" protobuf:"varint,24,opt,name=x4" thrift:"24"`
+	X05  int64              `json:"x5,omitempty" protobuf:"varint,25,opt,name=x5" thrift:"25"`
+	X06  int64              `json:"x6,omitempty" protobuf:"varint,26,opt,name=x6" thrift:"26"`
+	X07  int64              `json:"x7,omitempty" protobuf:"varint,27,opt,name=x7" thrift:"27"`
+	X08  int64              `json:"x8,omitempty" protobuf:"varint,28,opt,name=x8" thrift:"28"`
+	X09  int64              `json:"x9,omitempty" protobuf:"varint,29,opt,name=x9" thrift:"29"`
+	X10  int64              `json:"x10,omitempty" protobuf:"varint,30,opt,name=x10" thrift:"30"`
+	X11  int64              `json:"x11,omitempty" protobuf:"varint,31,opt,name=x11" thrift:"31"`
+	X12  int64              `json:"x12,omitempty" protobuf:"varint,32,opt,name=x12" thrift:"32"`
+	X13  int64              `json:"x13,omitempty" protobuf:"varint,33,opt,name=x13" thrift:"33"`
+	X14  int64              `json:"x14,omitempty" protobuf:"varint,34,opt,name=x14" thrift:"34"`
+	X15  int64              `json:"x15,omitempty" protobuf:"varint,35,opt,name=x15" thrift:"35"`
+	X16  int64              `json:"x16,omitempty" protobuf:"varint,36,opt,name=x16" thrift:"36"`
+	X17  int64              `json:"x17,omitempty" protobuf:"varint,37,opt,name=x17" thrift:"37"`
+	X18  int64              `json:"x18,omitempty" protobuf:"varint,38,opt,name=x18" thrift:"38"`
+	X19  int64              `json:"x19,omitempty" protobuf:"varint,39,opt,name=x19" thrift:"39"`
+	X20  int64              `json:"x20,omitempty" protobuf:"varint,40,opt,name=x20" thrift:"40"`
+	X21  int64              `json:"x21,omitempty" protobuf:"varint,41,opt,name=x21" thrift:"41"`
+	X22  int64              `json:"x22,omitempty" protobuf:"varint,42,opt,name=x22" thrift:"42"`
+	X23  int64              `json:"x23,omitempty" protobuf:"varint,43,opt,name=x23" thrift:"43"`
 }
 
 type Peer108 struct {
@@ -1531,11 +4256,36 @@ type Peer108 struct {
 }
 
 type Rec109 struct {
-	V    int64    `json:"v" protobuf:"varint,1,opt,name=v" thrift:"1"`
-	Next *Rec109  `json:"next,omitempty" protobuf:"bytes,2,opt,name=next" thrift:"2"`
-	Kids []Rec109 `json:"kids,omitempty" protobuf:"bytes,3,rep,name=kids" thrift:"3"`
-	Peer *Peer109 `json:"peer,omitempty" protobuf:"bytes,4,opt,name=peer" thrift:"4"`
-	S    string   `json:"s,omitempty" protobuf:"bytes,5,opt,name=s" thrift:"5"`
+	M    map[string]Peer109 `json:"m,omitempty" protobuf:"bytes,6,rep,name=m" protobuf_key:"bytes,1,opt,name=key" protobuf_val:"bytes,2,opt,name=value" thrift:"6"`
+	V    int64              `json:"v" protobuf:"varint,1,opt,name=v" thrift:"1"`
+	Next *Rec109            `json:"next,omitempty" protobuf:"bytes,2,opt,name=next" thrift:"2"`
+	Kids []Rec109           `json:"kids,omitempty" protobuf:"bytes,3,rep,name=kids" thrift:"3"`
+	Peer *Peer109           `json:"peer,omitempty" protobuf:"bytes,4,opt,name=peer" thrift:"4"`
+	S    string             `json:"s,omitempty" protobuf:"bytes,5,opt,name=s" thrift:"5"`
+	X00  int64              `json:"x0,omitempty" protobuf:"varint,20,opt,name=x0" thrift:"20"`
+	X01  int64              `json:"x1,omitempty" protobuf:"varint,21,opt,name=x1" thrift:"21"`
+	X02  int64              `json:"x2,omitempty" protobuf:"varint,22,opt,name=x2" thrift:"22"`
+	X03  int64              `json:"x3,omitempty" protobuf:"varint,23,opt,name=x3" thrift:"23"`
+	X04  int64              `json:"x4,omitempty" protobuf:"varint,24,opt,name=x4" thrift:"24"`
+	X05  int64              `json:"x5,omitempty" protobuf:"varint,25,opt,name=x5" thrift:"25"`
+	X06  int64              `json:"x6,omitempty" protobuf:"varint,26,opt,name=x6" thrift:"26"`
+	X07  int64              `json:"x7,omitempty" protobuf:"varint,27,opt,name=x7" thrift:"27"`
+	X08  int64              `json:"x8,omitempty" protobuf:"varint,28,opt,name=x8" thrift:"28"`
+	X09  int64              `json:"x9,omitempty" protobuf:"varint,29,opt,name=x9" thrift:"29"`
+	X10  int64              `json:"x10,omitempty" protobuf:"varint,30,opt,name=x10" thrift:"30"`
+	X11  int64              `json:"x11,omitempty" protobuf:"varint,31,opt,name=x11" thrift:"31"`
+	X12  int64              `json:"x12,omitempty" protobuf:"varint,32,opt,name=x12" thrift:"32"`
+	X13  int64              `json:"x13,omitempty" protobuf:"varint,33,opt,name=x13" thrift:"33"`
+	X14  int64              `json:"x14,omitempty" protobuf:"varint,34,opt,name=x14" thrift:"34"`
+	X15  int64              `json:"x15,omitempty" protobuf:"varint,35,opt,name=x15" thrift:"35"`
+	X16  int64              `json:"x16,omitempty" protobuf:"varint,36,opt,name=x16" thrift:"36"`
+	X17  int64              `json:"x17,omitempty" protobuf:"varint,37,opt,name=x17" thrift:"37"`
+	X18  int64              `json:"x18,omitempty" protobuf:"varint,38,opt,name=x18" thrift:"38"`
+	X19  int64              `json:"x19,omitempty" protobuf:"varint,39,opt,name=x19" thrift:"39"`
+	X20  int64              `json:"x20,omitempty" protobuf:"varint,40,opt,name=x20" thrift:"40"`
+	X21  int64              `json:"x21,omitempty" protobuf:"varint,41,opt,name=x21" thrift:"41"`
+	X22  int64              `json:"x22,omitempty" protobuf:"varint,42,opt,name=x22" thrift:"42"`
+	X23  int64              `json:"x23,omitempty" protobuf:"varint,43,opt,name=x23" thrift:"43"`
 }
 
 type Peer109 struct {
@@ -1545,11 +4295,36 @@ type Peer109 struct {
 }
 
 type Rec110 struct {
-	V    int64    `json:"v" protobuf:"varint,1,opt,name=v" thrift:"1"`
-	Next *Rec110  `json:"next,omitempty" protobuf:"bytes,2,opt,name=next" thrift:"2"`
-	Kids []Rec110 `json:"kids,omitempty" protobuf:"bytes,3,rep,name=kids" thrift:"3"`
-	Peer *Peer110 `json:"peer,omitempty" protobuf:"bytes,4,opt,name=peer" thrift:"4"`
-	S    string   `json:"s,omitempty" protobuf:"bytes,5,opt,name=s" thrift:"5"`
+	M    map[string]Peer110 `json:"m,omitempty" protobuf:"bytes,6,rep,name=m" protobuf_key:"bytes,1,opt,name=key" protobuf_val:"bytes,2,opt,name=value" thrift:"6"`
+	V    int64              `json:"v" protobuf:"varint,1,opt,name=v" thrift:"1"`
+	Next *Rec110            `json:"next,omitempty" protobuf:"bytes,2,opt,name=next" thrift:"2"`
+	Kids []Rec110           `json:"kids,omitempty" protobuf:"bytes,3,rep,name=kids" thrift:"3"`
+	Peer *Peer110           `json:"peer,omitempty" protobuf:"bytes,4,opt,name=peer" thrift:"4"`
+	S    string             `json:"s,omitempty" protobuf:"bytes,5,opt,name=s" thrift:"5"`
+	X00  int64              `json:"x0,omitempty" protobuf:"varint,20,opt,name=x0" thrift:"20"`
+	X01  int64              `json:"x1,omitempty" protobuf:"varint,21,opt,name=x1" thrift:"21"`
+	X02  int64              `json:"x2,omitempty" protobuf:"varint,22,opt,name=x2" thrift:"22"`
+	X03  int64              `json:"x3,omitempty" protobuf:"varint,23,opt,name=x3" thrift:"23"`
+	X04  int64              `json:"x4,omitempty" protobuf:"varint,24,opt,name=x4" thrift:"24"`
+	X05  int64              `json:"x5,omitempty" protobuf:"varint,25,opt,name=x5" thrift:"25"`
+	X06  int64              `json:"x6,omitempty" protobuf:"varint,26,opt,name=x6" thrift:"26"`
+	X07  int64              `json:"x7,omitempty" protobuf:"varint,27,opt,name=x7" thrift:"27"`
+	X08  int64              `json:"x8,omitempty" protobuf:"varint,28,opt,name=x8" thrift:"28"`
+	X09  int64              `json:"x9,omitempty" protobuf:"varint,29,opt,name=x9" thrift:"29"`
+	X10  int64              `json:"x10,omitempty" protobuf:"varint,30,opt,name=x10" thrift:"30"`
+	X11  int64              `json:"x11,omitempty" protobuf:"varint,31,opt,name=x11" thrift:"31"`
+	X12  int64              `json:"x12,omitempty" protobuf:"varint,32,opt,name=x12" thrift:"32"`
+	X13  int64              `json:"x13,omitempty" protobuf:"varint,33,opt,name=x13" thrift:"33"`
+	X14  int64              `json:"x14,omitempty" protobuf:"varint,34,opt,name=x14" thrift:"34"`
+	X15  int64              `json:"x15,omitempty" protobuf:"varint,35,opt,name=x15" thrift:"35"`
+	X16  int64              `json:"x16,omitempty" protobuf:"varint,36,opt,name=x16" thrift:"36"`
+	X17  int64              `json:"x17,omitempty" protobuf:"varint,37,opt,name=x17" thrift:"37"`
+	X18  int64              `json:"x18,omitempty" protobuf:"varint,38,opt,name=x18" thrift:"38"`
+	X19  int64              `json:"x19,omitempty" protobuf:"varint,39,opt,name=x19" thrift:"39"`
+	X20  int64              `json:"x20,omitempty" protobuf:"varint,40,opt,name=x20" thrift:"40"`
+	X21  int64              `json:"x21,omitempty" protobuf:"varint,41,opt,name=x21" thrift:"41"`
+	X22  int64              `json:"x22,omitempty" protobuf:"varint,42,opt,name=x22" thrift:"42"`
+	X23  int64              `json:"x23,omitempty" protobuf:"varint,43,opt,name=x23" thrift:"43"`
 }
 
 type Peer110 struct {
@@ -1559,11 +4334,36 @@ type Peer110 struct {
 }
 
 type Rec111 struct {
-	V    int64    `json:"v" protobuf:"varint,1,opt,name=v" thrift:"1"`
-	Next *Rec111  `json:"next,omitempty" protobuf:"bytes,2,opt,name=next" thrift:"2"`
-	Kids []Rec111 `json:"kids,omitempty" protobuf:"bytes,3,rep,name=kids" thrift:"3"`
-	Peer *Peer111 `json:"peer,omitempty" protobuf:"bytes,4,opt,name=peer" thrift:"4"`
-	S    string   `json:"s,omitempty" protobuf:"bytes,5,opt,name=s" thrift:"5"`
+	M    map[string]Peer111 `json:"m,omitempty" protobuf:"bytes,6,rep,name=m" protobuf_key:"bytes,1,opt,name=key" protobuf_val:"bytes,2,opt,name=value" thrift:"6"`
+	V    int64              `json:"v" protobuf:"varint,1,opt,name=v" thrift:"1"`
+	Next *Rec111            `json:"next,omitempty" protobuf:"bytes,2,opt,name=next" thrift:"2"`
+	Kids []Rec111           `json:"kids,omitempty" protobuf:"bytes,3,rep,name=kids" thrift:"3"`
+	Peer *Peer111           `json:"peer,omitempty" protobuf:"bytes,4,opt,name=peer" thrift:"4"`
+	S    string             `json:"s,omitempty" protobuf:"bytes,5,opt,name=s" thrift:"5"`
+	X00  int64              `json:"x0,omitempty" protobuf:"varint,20,opt,name=x0" thrift:"20"`
+	X01  int64              `json:"x1,omitempty" protobuf:"varint,21,opt,name=x1" thrift:"21"`
+	X02  int64              `json:"x2,omitempty" protobuf:"varint,22,opt,name=x2" thrift:"22"`
+	X03  int64              `json:"x3,omitempty" protobuf:"varint,23,opt,name=x3" thrift:"23"`
+	X04  int64              `json:"x4,omitempty" protobuf:"varint,24,opt,name=x4" thrift:"24"`
+	X05  int64              `json:"x5,omitempty" protobuf:"varint,25,opt,name=x5" thrift:"25"`
+	X06  int64              `json:"x6,omitempty" protobuf:"varint,26,opt,name=x6" thrift:"26"`
+	X07  int64              `json:"x7,omitempty" protobuf:"varint,27,opt,name=x7" thrift:"27"`
+	X08  int64              `json:"x8,omitempty" protobuf:"varint,28,opt,name=x8" thrift:"28"`
+	X09  int64              `json:"x9,omitempty" protobuf:"varint,29,opt,name=x9" thrift:"29"`
+	X10  int64              `json:"x10,omitempty" protobuf:"varint,30,opt,name=x10" thrift:"30"`
+	X11  int64              `json:"x11,omitempty" protobuf:"varint,31,opt,name=x11" thrift:"31"`
+	X12  int64              `json:"x12,omitempty" protobuf:"varint,32,opt,name=x12" thrift:"32"`
+	X13  int64              `json:"x13,omitempty" protobuf:"varint,33,opt,name=x13" thrift:"33"`
+	X14  int64              `json:"x14,omitempty" protobuf:"varint,34,opt,name=x14" thrift:"34"`
+	X15  int64              `json:"x15,omitempty" protobuf:"varint,35,opt,name=x15" thrift:"35"`
+	X16  int64              `json:"x16,omitempty" protobuf:"varint,36,opt,name=x16" thrift:"36"`
+	X17  int64              `json:"x17,omitempty" protobuf:"varint,37,opt,name=x17" thrift:"37"`
+	X18  int64              `json:"x18,omitempty" protobuf:"varint,38,opt,name=x18" thrift:"38"`
+	X19  int64              `json:"x19,omitempty" protobuf:"varint,39,opt,name=x19" thrift:"39"`
+	X20  int64              `json:"x20,omitempty" protobuf:"varint,40,opt,name=x20" thrift:"40"`
+	X21  int64              `json:"x21,omitempty" protobuf:"varint,41,opt,name=x21" thrift:"41"`
+	X22  int64              `json:"x22,omitempty" protobuf:"varint,42,opt,name=x22" thrift:"42"`
+	X23  int64              `json:"x23,omitempty" protobuf:"varint,43,opt,name=x23" thrift:"43"`
 }
 
 type Peer111 struct {
@@ -1573,11 +4373,36 @@ type Peer111 struct {
 }
 
 type Rec112 struct {
-	V    int64    `json:"v" protobuf:"varint,1,opt,name=v" thrift:"1"`
-	Next *Rec112  `json:"next,omitempty" protobuf:"bytes,2,opt,name=next" thrift:"2"`
-	Kids []Rec112 `json:"kids,omitempty" protobuf:"bytes,3,rep,name=kids" thrift:"3"`
-	Peer *Peer112 `json:"peer,omitempty" protobuf:"bytes,4,opt,name=peer" thrift:"4"`
-	S    string   `json:"s,omitempty" protobuf:"bytes,5,opt,name=s" thrift:"5"`
+	M    map[string]Peer112 `json:"m,omitempty" protobuf:"bytes,6,rep,name=m" protobuf_key:"bytes,1,opt,name=key" protobuf_val:"bytes,2,opt,name=value" thrift:"6"`
+	V    int64              `json:"v" protobuf:"varint,1,opt,name=v" thrift:"1"`
+	Next *Rec112            `json:"next,omitempty" protobuf:"bytes,2,opt,name=next" thrift:"2"`
+	Kids []Rec112           `json:"kids,omitempty" protobuf:"bytes,3,rep,name=kids" thrift:"3"`
+	Peer *Peer112           `json:"peer,omitempty" protobuf:"bytes,4,opt,name=peer" thrift:"4"`
+	S    string             `json:"s,omitempty" protobuf:"bytes,5,opt,name=s" thrift:"5"`
+	X00  int64              `json:"x0,omitempty" protobuf:"varint,20,opt,name=x0" thrift:"20"`
+	X01  int64              `json:"x1,omitempty" protobuf:"varint,21,opt,name=x1" thrift:"21"`
+	X02  int64              `json:"x2,omitempty" protobuf:"varint,22,opt,name=x2" thrift:"22"`
+	X03  int64              `json:"x3,omitempty" protobuf:"varint,23,opt,name=x3" thrift:"23"`
+	X04  int64              `json:"x4,omitempty" protobuf:"varint,24,opt,name=x4" thrift:"24"`
+	X05  int64              `json:"x5,omitempty" protobuf:"varint,25,opt,name=x5" thrift:"25"`
+	X06  int64              `json:"x6,omitempty" protobuf:"varint,26,opt,name=x6" thrift:"26"`
+	X07  int64              `json:"x7,omitempty" protobuf:"varint,27,opt,name=x7" thrift:"27"`
+	X08  int64              `json:"x8,omitempty" protobuf:"varint,28,opt,name=x8" thrift:"28"`
+	X09  int64              `json:"x9,omitempty" protobuf:"varint,29,opt,name=x9" thrift:"29"`
+	X10  int64              `json:"x10,omitempty" protobuf:"varint,30,opt,name=x10" thrift:"30"`
+	X11  int64              `json:"x11,omitempty" protobuf:"varint,31,opt,name=x11" thrift:"31"`
+	X12  int64              `json:"x12,omitempty" protobuf:"varint,32,opt,name=x12" thrift:"32"`
+	X13  int64              `json:"x13,omitempty" protobuf:"varint,33,opt,name=x13" thrift:"33"`
+	X14  int64              `json:"x14,omitempty" protobuf:"varint,34,opt,name=x14" thrift:"34"`
+	X15  int64              `json:"x15,omitempty" protobuf:"varint,35,opt,name=x15" thrift:"35"`
+	X16  int64              `json:"x16,omitempty" protobuf:"varint,36,opt,name=x16" thrift:"36"`
+	X17  int64              `json:"x17,omitempty" protobuf:"varint,37,opt,name=x17" thrift:"37"`
+	X18  int64              `json:"x18,omitempty" protobuf:"varint,38,opt,name=x18" thrift:"38"`
+	X19  int64              `json:"x19,omitempty" protobuf:"varint,39,opt,name=x19" thrift:"39"`
+	X20  int64              `json:"x20,omitempty" protobuf:"varint,40,opt,name=x20" thrift:"40"`
+	X21  int64              `json:"x21,omitempty" protobuf:"varint,41,opt,name=x21" thrift:"41"`
+	X22  int64              `json:"x22,omitempty" protobuf:"varint,42,opt,name=x22" thrift:"42"`
+	X23  int64              `json:"x23,omitempty" protobuf:"varint,43,opt,name=x23" thrift:"43"`
 }
 
 type Peer112 struct {
@@ -1587,11 +4412,36 @@ type Peer112 struct {
 }
 
 type Rec113 struct {
-	V    int64    `json:"v" protobuf:"varint,1,opt,name=v" thrift:"1"`
-	Next *Rec113  `json:"next,omitempty" protobuf:"bytes,2,opt,name=next" thrift:"2"`
-	Kids []Rec113 `json:"kids,omitempty" protobuf:"bytes,3,rep,name=kids" thrift:"3"`
-	Peer *Peer113 `json:"peer,omitempty" protobuf:"bytes,4,opt,name=peer" thrift:"4"`
-	S    string   `json:"s,omitempty" protobuf:"bytes,5,opt,name=s" thrift:"5"`
+	M    map[string]Peer113 `json:"m,omitempty" protobuf:"bytes,6,rep,name=m" protobuf_key:"bytes,1,opt,name=key" protobuf_val:"bytes,2,opt,name=value" thrift:"6"`
+	V    int64              `json:"v" protobuf:"varint,1,opt,name=v" thrift:"1"`
+	Next *Rec113            `json:"next,omitempty" protobuf:"bytes,2,opt,name=next" thrift:"2"`
+	Kids []Rec113           `json:"kids,omitempty" protobuf:"bytes,3,rep,name=kids" thrift:"3"`
+	Peer *Peer113           `json:"peer,omitempty" protobuf:"bytes,4,opt,name=peer" thrift:"4"`
+	S    string             `json:"s,omitempty" protobuf:"bytes,5,opt,name=s" thrift:"5"`
+	X00  int64              `json:"x0,omitempty" protobuf:"varint,20,opt,name=x0" thrift:"20"`
+	X01  int64              `json:"x1,omitempty" protobuf:"varint,21,opt,name=x1" thrift:"21"`
+	X02  int64              `json:"x2,omitempty" protobuf:"varint,22,opt,name=x2" thrift:"22"`
+	X03  int64              `json:"x3,omitempty" protobuf:"varint,23,opt,name=x3" thrift:"23"`
+	X04  int64              `json:"x4,omitempty" protobuf:"varint,24,opt,name=x4" thrift:"24"`
+	X05  int64              `json:"x5,omitempty" protobuf:"varint,25,opt,name=x5" thrift:"25"`
+	X06  int64              `json:"x6,omitempty" protobuf:"varint,26,opt,name=x6" thrift:"26"`
+	X07  int64              `json:"x7,omitempty" protobuf:"varint,27,opt,name=x7" thrift:"27"`
+	X08  int64              `json:"x8,omitempty" protobuf:"varint,28,opt,name=x8" thrift:"28"`
+	X09  int64              `json:"x9,omitempty" protobuf:"varint,29,opt,name=x9" thrift:"29"`
+	X10  int64              `json:"x10,omitempty" protobuf:"varint,30,opt,name=x10" thrift:"30"`
+	X11  int64              `json:"x11,omitempty" protobuf:"varint,31,opt,name=x11" thrift:"31"`
+	X12  int64              `json:"x12,omitempty" protobuf:"varint,32,opt,name=x12" thrift:"32"`
+	X13  int64              `json:"x13,omitempty" protobuf:"varint,33,opt,name=x13" thrift:"33"`
+	X14  int64              `json:"x14,omitempty" protobuf:"varint,34,opt,name=x14" thrift:"34"`
+	X15  int64              `json:"x15,omitempty" protobuf:"varint,35,opt,name=x15" thrift:"35"`
+	X16  int64              `json:"x16,omitempty" protobuf:"varint,36,opt,name=x16" thrift:"36"`
+	X17  int64              `json:"x17,omitempty" protobuf:"varint,37,opt,name=x17" thrift:"37"`
+	X18  int64              `json:"x18,omitempty" protobuf:"varint,38,opt,name=x18" thrift:"38"`
+	X19  int64              `json:"x19,omitempty" protobuf:"varint,39,opt,name=x19" thrift:"39"`
+	X20  int64              `json:"x20,omitempty" protobuf:"varint,40,opt,name=x20" thrift:"40"`
+	X21  int64              `json:"x21,omitempty" protobuf:"varint,41,opt,name=x21" thrift:"41"`
+	X22  int64              `json:"x22,omitempty" protobuf:"varint,42,opt,name=x22" thrift:"42"`
+	X23  int64              `json:"x23,omitempty" protobuf:"varint,43,opt,name=x23" thrift:"43"`
 }
 
 type Peer113 struct {
@@ -1601,11 +4451,36 @@ type Peer113 struct {
 }
 
 type Rec114 struct {
-	V    int64    `json:"v" protobuf:"varint,1,opt,name=v" thrift:"1"`
-	Next *Rec114  `json:"next,omitempty" protobuf:"bytes,2,opt,name=next" thrift:"2"`
-	Kids []Rec114 `json:"kids,omitempty" protobuf:"bytes,3,rep,name=kids" thrift:"3"`
-	Peer *Peer114 `json:"peer,omitempty" protobuf:"bytes,4,opt,name=peer" thrift:"4"`
-	S    string   `json:"s,omitempty" protobuf:"bytes,5,opt,name=s" thrift:"5"`
+	M    map[string]Peer114 `json:"m,omitempty" protobuf:"bytes,6,rep,name=m" protobuf_key:"bytes,1,opt,name=key" protobuf_val:"bytes,2,opt,name=value" thrift:"6"`
+	V    int64              `json:"v" protobuf:"varint,1,opt,name=v" thrift:"1"`
+	Next *Rec114            `json:"next,omitempty" protobuf:"bytes,2,opt,name=next" thrift:"2"`
+	Kids []Rec114           `json:"kids,omitempty" protobuf:"bytes,3,rep,name=kids" thrift:"3"`
+	Peer *Peer114           `json:"peer,omitempty" protobuf:"bytes,4,opt,name=peer" thrift:"4"`
+	S    string             `json:"s,omitempty" protobuf:"bytes,5,opt,name=s" thrift:"5"`
+	X00  int64              `json:"x0,omitempty" protobuf:"varint,20,opt,name=x0" thrift:"20"`
+	X01  int64              `json:"x1,omitempty" protobuf:"varint,21,opt,name=x1" thrift:"21"`
+	X02  int64              `json:"x2,omitempty" protobuf:"varint,22,opt,name=x2" thrift:"22"`
+	X03  int64              `json:"x3,omitempty" protobuf:"varint,23,opt,name=x3" thrift:"23"`
+	X04  int64              `json:"x4,omitempty" protobuf:"varint,24,opt,name=x4" thrift:"24"`
+	X05  int64              `json:"x5,omitempty" protobuf:"varint,25,opt,name=x5" thrift:"25"`
+	X06  int64              `json:"x6,omitempty" protobuf:"varint,26,opt,name=x6" thrift:"26"`
+	X07  int64              `json:"x7,omitempty" protobuf:"varint,27,opt,name=x7" thrift:"27"`
+	X08  int64              `json:"x8,omitempty" protobuf:"varint,28,opt,name=x8" thrift:"28"`
+	X09  int64              `json:"x9,omitempty" protobuf:"varint,29,opt,name=x9" thrift:"29"`
+	X10  int64              `json:"x10,omitempty" protobuf:"varint,30,opt,name=x10" thrift:"30"`
+	X11  int64              `json:"x11,omitempty" protobuf:"varint,31,opt,name=x11" thrift:"31"`
+	X12  int64              `json:"x12,omitempty" protobuf:"varint,32,opt,name=x12" thrift:"32"`
+	X13  int64              `json:"x13,omitempty" protobuf:"varint,33,opt,name=x13" thrift:"33"`
+	X14  int64              `json:"x14,omitempty" protobuf:"varint,34,opt,name=x14" thrift:"34"`
+	X15  int64              `json:"x15,omitempty" protobuf:"varint,35,opt,name=x15" thrift:"35"`
+	X16  int64              `json:"x16,omitempty" protobuf:"varint,36,opt,name=x16" thrift:"36"`
+	X17  int64              `json:"x17,omitempty" protobuf:"varint,37,opt,name=x17" thrift:"37"`
+	X18  int64              `json:"x18,omitempty" protobuf:"varint,38,opt,name=x18" thrift:"38"`
+	X19  int64              `json:"x19,omitempty" protobuf:"varint,39,opt,name=x19" thrift:"39"`
+	X20  int64              `json:"x20,omitempty" protobuf:"varint,40,opt,name=x20" thrift:"40"`
+	X21  int64              `json:"x21,omitempty" protobuf:"varint,41,opt,name=x21" thrift:"41"`
+	X22  int64              `json:"x22,omitempty" protobuf:"varint,42,opt,name=x22" thrift:"42"`
+	X23  int64              `json:"x23,omitempty" protobuf:"varint,43,opt,name=x23" thrift:"43"`
 }
 
 type Peer114 struct {
@@ -1615,11 +4490,36 @@ type Peer114 struct {
 }
 
 type Rec115 struct {
-	V    int64    `json:"v" protobuf:"varint,1,opt,name=v" thrift:"1"`
-	Next *Rec115  `json:"next,omitempty" protobuf:"bytes,2,opt,name=next" thrift:"2"`
-	Kids []Rec115 `json:"kids,omitempty" protobuf:"bytes,3,rep,name=kids" thrift:"3"`
-	Peer *Peer115 `json:"peer,omitempty" protobuf:"bytes,4,opt,name=peer" thrift:"4"`
-	S    string   `json:"s,omitempty" protobuf:"bytes,5,opt,name=s" thrift:"5"`
+	M    map[string]Peer115 `json:"m,omitempty" protobuf:"bytes,6,rep,name=m" protobuf_key:"bytes,1,opt,name=key" protobuf_val:"bytes,2,opt,name=value" thrift:"6"`
+	V    int64              `json:"v" protobuf:"varint,1,opt,name=v" thrift:"1"`
+	Next *Rec115            `json:"next,omitempty" protobuf:"bytes,2,opt,name=next" thrift:"2"`
+	Kids []Rec115           `json:"kids,omitempty" protobuf:"bytes,3,rep,name=kids" thrift:"3"`
+	Peer *Peer115           `json:"peer,omitempty" protobuf:"bytes,4,opt,name=peer" thrift:"4"`
+	S    string             `json:"s,omitempty" protobuf:"bytes,5,opt,name=s" thrift:"5"`
+	X00  int64              `json:"x0,omitempty" protobuf:"varint,20,opt,name=x0" thrift:"20"`
+	X01  int64              `json:"x1,omitempty" protobuf:"varint,21,opt,name=x1" thrift:"21"`
+	X02  int64              `json:"x2,omitempty" protobuf:"varint,22,opt,name=x2" thrift:"22"`
+	X03  int64              `json:"x3,omitempty" protobuf:"varint,23,opt,name=x3" thrift:"23"`
+	X04  int64              `json:"x4,omitempty" protobuf:"varint,24,opt,name=x4" thrift:"24"`
+	X05  int64              `json:"x5,omitempty" protobuf:"varint,25,opt,name=x5" thrift:"25"`
+	X06  int64              `json:"x6,omitempty" protobuf:"varint,26,opt,name=x6" thrift:"26"`
+	X07  int64              `json:"x7,omitempty" protobuf:"varint,27,opt,name=x7" thrift:"27"`
+	X08  int64              `json:"x8,omitempty" protobuf:"varint,28,opt,name=x8" thrift:"28"`
+	X09  int64              `json:"x9,omitempty" protobuf:"varint,29,opt,name=x9" thrift:"29"`
+	X10  int64              `json:"x10,omitempty" protobuf:"varint,30,opt,name=x10" thrift:"30"`
+	X11  int64              `json:"x11,omitempty" protobuf:"varint,31,opt,name=x11" thrift:"31"`
+	X12  int64              `json:"x12,omitempty" protobuf:"varint,32,opt,name=x12" thrift:"32"`
+	X13  int64              `json:"x13,omitempty" protobuf:"varint,33,opt,name=x13" thrift:"33"`
+	X14  int64              `json:"x14,omitempty" protobuf:"varint,34,opt,name=x14" thrift:"34"`
+	X15  int64              `json:"x15,omitempty" protobuf:"varint,35,opt,name=x15" thrift:"35"`
+	X16  int64              `json:"x16,omitempty" protobuf:"varint,36,opt,name=x16" thrift:"36"`
+	X17  int64              `json:"x17,omitempty" protobuf:"varint,37,opt,name=x17" thrift:"37"`
+	X18  int64              `json:"x18,omitempty" protobuf:"varint,38,opt,name=x18" thrift:"38"`
+	X19  int64              `json:"x19,omitempty" protobuf:"varint,39,opt,name=x19" thrift:"39"`
+	X20  int64              `json:"x20,omitempty" protobuf:"varint,40,opt,name=x20" thrift:"40"`
+	X21  int64              `json:"x21,omitempty" protobuf:"varint,41,opt,name=x21" thrift:"41"`
+	X22  int64              `json:"x22,omitempty" protobuf:"varint,42,opt,name=x22" thrift:"42"`
+	X23  int64              `json:"x23,omitempty" protobuf:"varint,43,opt,name=x23" thrift:"43"`
 }
 
 type Peer115 struct {
@@ -1629,11 +4529,36 @@ type Peer115 struct {
 }
 
 type Rec116 struct {
-	V    int64    `json:"v" protobuf:"varint,1,opt,name=v" thrift:"1"`
-	Next *Rec116  `json:"next,omitempty" protobuf:"bytes,2,opt,name=next" thrift:"2"`
-	Kids []Rec116 `json:"kids,omitempty" protobuf:"bytes,3,rep,name=kids" thrift:"3"`
-	Peer *Peer116 `json:"peer,omitempty" protobuf:"bytes,4,opt,name=peer" thrift:"4"`
-	S    string   `json:"s,omitempty" protobuf:"bytes,5,opt,name=s" thrift:"5"`
+	M    map[string]Peer116 `json:"m,omitempty" protobuf:"bytes,6,rep,name=m" protobuf_key:"bytes,1,opt,name=key" protobuf_val:"bytes,2,opt,name=value" thrift:"6"`
+	V    int64              `json:"v" protobuf:"varint,1,opt,name=v" thrift:"1"`
+	Next *Rec116            `json:"next,omitempty" protobuf:"bytes,2,opt,name=next" thrift:"2"`
+	Kids []Rec116           `json:"kids,omitempty" protobuf:"bytes,3,rep,name=kids" thrift:"3"`
+	Peer *Peer116           `json:"peer,omitempty" protobuf:"bytes,4,opt,name=peer" thrift:"4"`
+	S    string             `json:"s,omitempty" protobuf:"bytes,5,opt,name=s" thrift:"5"`
+	X00  int64              `json:"x0,omitempty" protobuf:"varint,20,opt,name=x0" thrift:"20"`
+	X01  int64              `json:"x1,omitempty" protobuf:"varint,21,opt,name=x1" thrift:"21"`
+	X02  int64              `json:"x2,omitempty" protobuf:"varint,22,opt,name=x2" thrift:"22"`
+	X03  int64              `json:"x3,omitempty" protobuf:"varint,23,opt,name=x3" thrift:"23"`
+	X04  int64              `json:"x4,omitempty" protobuf:"varint,24,opt,name=x4" thrift:"24"`
+	X05  int64              `json:"x5,omitempty" protobuf:"varint,25,opt,name=x5" thrift:"25"`
+	X06  int64              `json:"x6,omitempty" protobuf:"varint,26,opt,name=x6" thrift:"26"`
+	X07  int64              `json:"x7,omitempty" protobuf:"varint,27,opt,name=x7" thrift:"27"`
+	X08  int64              `json:"x8,omitempty" protobuf:"varint,28,opt,name=x8" thrift:"28"`
+	X09  int64              `json:"x9,omitempty" protobuf:"varint,29,opt,name=x9" thrift:"29"`
+	X10  int64              `json:"x10,omitempty" protobuf:"varint,30,opt,name=x10" thrift:"30"`
+	X11  int64              `json:"x11,omitempty" protobuf:"varint,31,opt,name=x11" thrift:"31"`
+	X12  int64              `json:"x12,omitempty" protobuf:"varint,32,opt,name=x12" thrift:"32"`
+	X13  int64              `json:"x13,omitempty" protobuf:"varint,33,opt,name=x13" thrift:"33"`
+	X14  int64              `json:"x14,omitempty" protobuf:"varint,34,opt,name=x14" thrift:"34"`
+	X15  int64              `json:"x15,omitempty" protobuf:"varint,35,opt,name=x15" thrift:"35"`
+	X16  int64              `json:"x16,omitempty" protobuf:"varint,36,opt,name=x16" thrift:"36"`
+	X17  int64              `json:"x17,omitempty" protobuf:"varint,37,opt,name=x17" thrift:"37"`
+	X18  int64              `json:"x18,omitempty" protobuf:"varint,38,opt,name=x18" thrift:"38"`
+	X19  int64              `json:"x19,omitempty" protobuf:"varint,39,opt,name=x19" thrift:"39"`
+	X20  int64              `json:"x20,omitempty" protobuf:"varint,40,opt,name=x20" thrift:"40"`
+	X21  int64              `json:"x21,omitempty" protobuf:"varint,41,opt,name=x21" thrift:"41"`
+	X22  int64              `json:"x22,omitempty" protobuf:"varint,42,opt,name=x22" thrift:"42"`
+	X23  int64              `json:"x23,omitempty" protobuf:"varint,43,opt,name=x23" thrift:"43"`
 }
 
 type Peer116 struct {
@@ -1643,11 +4568,36 @@ type Peer116 struct {
 }
 
 type Rec117 struct {
-	V    int64    `json:"v" protobuf:"varint,1,opt,name=v" thrift:"1"`
-	Next *Rec117  `json:"next,omitempty" protobuf:"bytes,2,opt,name=next" thrift:"2"`
-	Kids []Rec117 `json:"kids,omitempty" protobuf:"bytes,3,rep,name=kids" thrift:"3"`
-	Peer *Peer117 `json:"peer,omitempty" protobuf:"bytes,4,opt,name=peer" thrift:"4"`
-	S    string   `json:"s,omitempty" protobuf:"bytes,5,opt,name=s" thrift:"5"`
+	M    map[string]Peer117 `json:"m,omitempty" protobuf:"bytes,6,rep,name=m" protobuf_key:"bytes,1,opt,name=key" protobuf_val:"bytes,2,opt,name=value" thrift:"6"`
+	V    int64              `json:"v" protobuf:"varint,1,opt,name=v" thrift:"1"`
+	Next *Rec117            `json:"next,omitempty" protobuf:"bytes,2,opt,name=next" thrift:"2"`
+	Kids []Rec117           `json:"kids,omitempty" protobuf:"bytes,3,rep,name=kids" thrift:"3"`
+	Peer *Peer117           `json:"peer,omitempty" protobuf:"bytes,4,opt,name=peer" thrift:"4"`
+	S    string             `json:"s,omitempty" protobuf:"bytes,5,opt,name=s" thrift:"5"`
+	X00  int64              `json:"x0,omitempty" protobuf:"varint,20,opt,name=x0" thrift:"20"`
+	X01  int64              `json:"x1,omitempty" protobuf:"varint,21,opt,name=x1" thrift:"21"`
+	X02  int64              `json:"x2,omitempty" protobuf:"varint,22,opt,name=x2" thrift:"22"`
+	X03  int64              `json:"x3,omitempty" protobuf:"varint,23,opt,name=x3" thrift:"23"`
+	X04  int64              `json:"x4,omitempty" protobuf:"varint,24,opt,name=x4" thrift:"24"`
+	X05  int64              `json:"x5,omitempty" protobuf:"varint,25,opt,name=x5" thrift:"25"`
+	X06  int64              `json:"x6,omitempty" protobuf:"varint,26,opt,name=x6" thrift:"26"`
+	X07  int64              `json:"x7,omitempty" protobuf:"varint,27,opt,name=x7" thrift:"27"`
+	X08  int64              `json:"x8,omitempty" protobuf:"varint,28,opt,name=x8" thrift:"28"`
+	X09  int64              `json:"x9,omitempty" protobuf:"varint,29,opt,name=x9" thrift:"29"`
+	X10  int64              `json:"x10,omitempty" protobuf:"varint,30,opt,name=x10" thrift:"30"`
+	X11  int64              `json:"x11,omitempty" protobuf:"varint,31,opt,name=x11" thrift:"31"`
+	X12  int64              `json:"x12,omitempty" protobuf:"varint,32,opt,name=x12" thrift:"32"`
+	X13  int64              `json:"x13,omitempty" protobuf:"varint,33,opt,name=x13" thrift:"33"`
+	X14  int64              `json:"x14,omitempty" protobuf:"varint,34,opt,name=x14" thrift:"34"`
+	X15  int64              `json:"x15,omitempty" protobuf:"varint,35,opt,name=x15" thrift:"35"`
+	X16  int64              `json:"x16,omitempty" protobuf:"varint,36,opt,name=x16" thrift:"36"`
+	X17  int64              `json:"x17,omitempty" protobuf:"varint,37,opt,name=x17" thrift:"37"`
+	X18  int64              `json:"x18,omitempty" protobuf:"varint,38,opt,name=x18" thrift:"38"`
+	X19  int64              `json:"x19,omitempty" protobuf:"varint,39,opt,name=x19" thrift:"39"`
+	X20  int64              `json:"x20,omitempty" protobuf:"varint,40,opt,name=x20" thrift:"40"`
+	X21  int64              `json:"x21,omitempty" protobuf:"varint,41,opt,name=x21" thrift:"41"`
+	X22  int64              `json:"x22,omitempty" protobuf:"varint,42,opt,name=x22" thrift:"42"`
+	X23  int64              `json:"x23,omitempty" protobuf:"varint,43,opt,name=x23" thrift:"43"`
 }
 
 type Peer117 struct {
@@ -1657,11 +4607,36 @@ type Peer117 struct {
 }
 
 type Rec118 struct {
-	V    int64    `json:"v" protobuf:"varint,1,opt,name=v" thrift:"1"`
-	Next *Rec118  `json:"next,omitempty" protobuf:"bytes,2,opt,name=next" thrift:"2"`
-	Kids []Rec118 `json:"kids,omitempty" protobuf:"bytes,3,rep,name=kids" thrift:"3"`
-	Peer *Peer118 `json:"peer,omitempty" protobuf:"bytes,4,opt,name=peer" thrift:"4"`
-	S    string   `json:"s,omitempty" protobuf:"bytes,5,opt,name=s" thrift:"5"`
+	M    map[string]Peer118 `json:"m,omitempty" protobuf:"bytes,6,rep,name=m" protobuf_key:"bytes,1,opt,name=key" protobuf_val:"bytes,2,opt,name=value" thrift:"6"`
+	V    int64              `json:"v" protobuf:"varint,1,opt,name=v" thrift:"1"`
+	Next *Rec118            `json:"next,omitempty" protobuf:"bytes,2,opt,name=next" thrift:"2"`
+	Kids []Rec118           `json:"kids,omitempty" protobuf:"bytes,3,rep,name=kids" thrift:"3"`
+	Peer *Peer118           `json:"peer,omitempty" protobuf:"bytes,4,opt,name=peer" thrift:"4"`
+	S    string             `json:"s,omitempty" protobuf:"bytes,5,opt,name=s" thrift:"5"`
+	X00  int64              `json:"x0,omitempty" protobuf:"varint,20,opt,name=x0" thrift:"20"`
+	X01  int64              `json:"x1,omitempty" protobuf:"varint,21,opt,name=x1" thrift:"21"`
+	X02  int64              `json:"x2,omitempty" protobuf:"varint,22,opt,name=x2" thrift:"22"`
+	X03  int64              `json:"x3,omitempty" protobuf:"varint,23,opt,name=x3" thrift:"23"`
+	X04  int64              `json:"x4,omitempty" protobuf:"varint,24,opt,name=x4" thrift:"24"`
+	X05  int64              `json:"x5,omitempty" protobuf:"varint,25,opt,name=x5" thrift:"25"`
+	X06  int64              `json:"x6,omitempty" protobuf:"varint,26,opt,name=x6" thrift:"26"`
+	X07  int64              `json:"x7,omitempty" protobuf:"varint,27,opt,name=x7" thrift:"27"`
+	X08  int64              `json:"x8,omitempty" protobuf:"varint,28,opt,name=x8" thrift:"28"`
+	X09  int64              `json:"x9,omitempty" protobuf:"varint,29,opt,name=x9" thrift:"29"`
+	X10  int64              `json:"x10,omitempty" protobuf:"varint,30,opt,name=x10" thrift:"30"`
+	X11  int64              `json:"x11,omitempty" protobuf:"varint,31,opt,name=x11" thrift:"31"`
+	X12  int64              `json:"x12,omitempty" protobuf:"varint,32,opt,name=x12" thrift:"32"`
+	X13  int64              `json:"x13,omitempty" protobuf:"varint,33,opt,name=x13" thrift:"33"`
+	X14  int64              `json:"x14,omitempty" protobuf:"varint,34,opt,name=x14" thrift:"34"`
+	X15  int64              `json:"x15,omitempty" protobuf:"varint,35,opt,name=x15" thrift:"35"`
+	X16  int64              `json:"x16,omitempty" protobuf:"varint,36,opt,name=x16" thrift:"36"`
+	X17  int64              `json:"x17,omitempty" protobuf:"varint,37,opt,name=x17" thrift:"37"`
+	X18  int64              `json:"x18,omitempty" protobuf:"varint,38,opt,name=x18" thrift:"38"`
+	X19  int64              `json:"x19,omitempty" protobuf:"varint,39,opt,name=x19" thrift:"39"`
+	X20  int64              `json:"x20,omitempty" protobuf:"varint,40,opt,name=x20" thrift:"40"`
+	X21  int64              `json:"x21,omitempty" protobuf:"varint,41,opt,name=x21" thrift:"41"`
+	X22  int64              `json:"x22,omitempty" protobuf:"varint,42,opt,name=x22" thrift:"42"`
+	X23  int64              `json:"x23,omitempty" protobuf:"varint,43,opt,name=x23" thrift:"43"`
 }
 
 type Peer118 struct {
@@ -1671,11 +4646,36 @@ type Peer118 struct {
 }
 
 type Rec119 struct {
-	V    int64    `json:"v" protobuf:"varint,1,opt,name=v" thrift:"1"`
-	Next *Rec119  `json:"next,omitempty" protobuf:"bytes,2,opt,name=next" thrift:"2"`
-	Kids []Rec119 `json:"kids,omitempty" protobuf:"bytes,3,rep,name=kids" thrift:"3"`
-	Peer *Peer119 `json:"peer,omitempty" protobuf:"bytes,4,opt,name=peer" thrift:"4"`
-	S    string   `json:"s,omitempty" protobuf:"bytes,5,opt,name=s" thrift:"5"`
+	M    map[string]Peer119 `json:"m,omitempty" protobuf:"bytes,6,rep,name=m" protobuf_key:"bytes,1,opt,name=key" protobuf_val:"bytes,2,opt,name=value" thrift:"6"`
+	V    int64              `json:"v" protobuf:"varint,1,opt,name=v" thrift:"1"`
+	Next *Rec119            `json:"next,omitempty" protobuf:"bytes,2,opt,name=next" thrift:"2"`
+	Kids []Rec119           `json:"kids,omitempty" protobuf:"bytes,3,rep,name=kids" thrift:"3"`
+	Peer *Peer119           `json:"peer,omitempty" protobuf:"bytes,4,opt,name=peer" thrift:"4"`
+	S    string             `json:"s,omitempty" protobuf:"bytes,5,opt,name=s" thrift:"5"`
+	X00  int64              `json:"x0,omitempty" protobuf:"varint,20,opt,name=x0" thrift:"20"`
+	X01  int64              `json:"x1,omitempty" protobuf:"varint,21,opt,name=x1" thrift:"21"`
+	X02  int64              `json:"x2,omitempty" protobuf:"varint,22,opt,name=x2" thrift:"22"`
+	X03  int64              `json:"x3,omitempty" protobuf:"varint,23,opt,name=x3" thrift:"23"`
+	X04  int64              `json:"x4,omitempty" protobuf:"varint,24,opt,name=x4" thrift:"24"`
+	X05  int64              `json:"x5,omitempty" protobuf:"varint,25,opt,name=x5" thrift:"25"`
+	X06  int64              `json:"x6,omitempty" protobuf:"varint,26,opt,name=x6" thrift:"26"`
+	X07  int64              `json:"x7,omitempty" protobuf:"varint,27,opt,name=x7" thrift:"27"`
+	X08  int64              `json:"x8,omitempty" protobuf:"varint,28,opt,name=x8" thrift:"28"`
+	X09  int64              `json:"x9,omitempty" protobuf:"varint,29,opt,name=x9" thrift:"29"`
+	X10  int64              `json:"x10,omitempty" protobuf:"varint,30,opt,name=x10" thrift:"30"`
+	X11  int64              `json:"x11,omitempty" protobuf:"varint,31,opt,name=x11" thrift:"31"`
+	X12  int64              `json:"x12,omitempty" protobuf:"varint,32,opt,name=x12" thrift:"32"`
+	X13  int64              `json:"x13,omitempty" protobuf:"varint,33,opt,name=x13" thrift:"33"`
+	X14  int64              `json:"x14,omitempty" protobuf:"varint,34,opt,name=x14" thrift:"34"`
+	X15  int64              `json:"x15,omitempty" protobuf:"varint,35,opt,name=x15" thrift:"35"`
+	X16  int64              `json:"x16,omitempty" protobuf:"varint,36,opt,name=x16" thrift:"36"`
+	X17  int64              `json:"x17,omitempty" protobuf:"varint,37,opt,name=x17" thrift:"37"`
+	X18  int64              `json:"x18,omitempty" protobuf:"varint,38,opt,name=x18" thrift:"38"`
+	X19  int64              `json:"x19,omitempty" protobuf:"varint,39,opt,name=x19" thrift:"39"`
+	X20  int64              `json:"x20,omitempty" protobuf:"varint,40,opt,name=x20" thrift:"40"`
+	X21  int64              `json:"x21,omitempty" protobuf:"varint,41,opt,name=x21" thrift:"41"`
+	X22  int64              `json:"x22,omitempty" protobuf:"varint,42,opt,name=x22" thrift:"42"`
+	X23  int64              `json:"x23,omitempty" protobuf:"varint,43,opt,name=x23" thrift:"43"`
 }
 
 type Peer119 struct {
@@ -1685,11 +4685,36 @@ type Peer119 struct {
 }
 
 type Rec120 struct {
-	V    int64    `json:"v" protobuf:"varint,1,opt,name=v" thrift:"1"`
-	Next *Rec120  `json:"next,omitempty" protobuf:"bytes,2,opt,name=next" thrift:"2"`
-	Kids []Rec120 `json:"kids,omitempty" protobuf:"bytes,3,rep,name=kids" thrift:"3"`
-	Peer *Peer120 `json:"peer,omitempty" protobuf:"bytes,4,opt,name=peer" thrift:"4"`
-	S    string   `json:"s,omitempty" protobuf:"bytes,5,opt,name=s" thrift:"5"`
+	M    map[string]Peer120 `json:"m,omitempty" protobuf:"bytes,6,rep,name=m" protobuf_key:"bytes,1,opt,name=key" protobuf_val:"bytes,2,opt,name=value" thrift:"6"`
+	V    int64              `json:"v" protobuf:"varint,1,opt,name=v" thrift:"1"`
+	Next *Rec120            `json:"next,omitempty" protobuf:"bytes,2,opt,name=next" thrift:"2"`
+	Kids []Rec120           `json:"kids,omitempty" protobuf:"bytes,3,rep,name=kids" thrift:"3"`
+	Peer *Peer120           `json:"peer,omitempty" protobuf:"bytes,4,opt,name=peer" thrift:"4"`
+	S    string             `json:"s,omitempty" protobuf:"bytes,5,opt,name=s" thrift:"5"`
+	X00  int64              `json:"x0,omitempty" protobuf:"varint,20,opt,name=x0" thrift:"20"`
+	X01  int64              `json:"x1,omitempty" protobuf:"varint,21,opt,name=x1" thrift:"21"`
+	X02  int64              `json:"x2,omitempty" protobuf:"varint,22,opt,name=x2" thrift:"22"`
+	X03  int64              `json:"x3,omitempty" protobuf:"varint,23,opt,name=x3" thrift:"23"`
+	X04  int64              `json:"x4,omitempty" protobuf:"varint,24,opt,name=x4" thrift:"24"`
+	X05  int64              `json:"x5,omitempty" protobuf:"varint,25,opt,name=x5" thrift:"25"`
+	X06  int64              `json:"x6,omitempty" protobuf:"varint,26,opt,name=x6" thrift:"26"`
+	X07  int64              `json:"x7,omitempty" protobuf:"varint,27,opt,name=x7" thrift:"27"`
+	X08  int64              `json:"x8,omitempty" protobuf:"varint,28,opt,name=x8" thrift:"28"`
+	X09  int64              `json:"x9,omitempty" protobuf:"varint,29,opt,name=x9" thrift:"29"`
+	X10  int64              `json:"x10,omitempty" protobuf:"varint,30,opt,name=x10" thrift:"30"`
+	X11  int64              `json:"x11,omitempty" protobuf:"varint,31,opt,name=x11" thrift:"31"`
+	X12  int64              `json:"x12,omitempty" protobuf:"varint,32,opt,name=x12" thrift:"32"`
+	X13  int64              `json:"x13,omitempty" protobuf:"varint,33,opt,name=x13" thrift:"33"`
+	X14  int64              `json:"x14,omitempty" protobuf:"varint,34,opt,name=x14" thrift:"34"`
+	X15  int64              `json:"x15,omitempty" protobuf:"varint,35,opt,name=x15" thrift:"35"`
+	X16  int64              `json:"x16,omitempty" protobuf:"varint,36,opt,name=x16" thrift:"36"`
+	X17  int64              `json:"x17,omitempty" protobuf:"varint,37,opt,name=x17" thrift:"37"`
+	X18  int64              `json:"x18,omitempty" protobuf:"varint,38,opt,name=x18" thrift:"38"`
+	X19  int64              `json:"x19,omitempty" protobuf:"varint,39,opt,name=x19" thrift:"39"`
+	X20  int64              `json:"x20,omitempty" protobuf:"varint,40,opt,name=x20" thrift:"40"`
+	X21  int64              `json:"x21,omitempty" protobuf:"varint,41,opt,name=x21" thrift:"41"`
+	X22  int64              `json:"x22,omitempty" protobuf:"varint,42,opt,name=x22" thrift:"42"`
+	X23  int64              `json:"x23,omitempty" protobuf:"varint,43,opt,name=x23" thrift:"43"`
 }
 
 type Peer120 struct {
@@ -1699,11 +4724,36 @@ type Peer120 struct {
 }
 
 type Rec121 struct {
-	V    int64    `json:"v" protobuf:"varint,1,opt,name=v" thrift:"1"`
-	Next *Rec121  `json:"next,omitempty" protobuf:"bytes,2,opt,name=next" thrift:"2"`
-	Kids []Rec121 `json:"kids,omitempty" protobuf:"bytes,3,rep,name=kids" thrift:"3"`
-	Peer *Peer121 `json:"peer,omitempty" protobuf:"bytes,4,opt,name=peer" thrift:"4"`
-	S    string   `json:"s,omitempty" protobuf:"bytes,5,opt,name=s" thrift:"5"`
+	M    map[string]Peer121 `json:"m,omitempty" protobuf:"bytes,6,rep,name=m" protobuf_key:"bytes,1,opt,name=key" protobuf_val:"bytes,2,opt,name=value" thrift:"6"`
+	V    int64              `json:"v" protobuf:"varint,1,opt,name=v" thrift:"1"`
+	Next *Rec121            `json:"next,omitempty" protobuf:"bytes,2,opt,name=next" thrift:"2"`
+	Kids []Rec121           `json:"kids,omitempty" protobuf:"bytes,3,rep,name=kids" thrift:"3"`
+	Peer *Peer121           `json:"peer,omitempty" protobuf:"bytes,4,opt,name=peer" thrift:"4"`
+	S    string             `json:"s,omitempty" protobuf:"bytes,5,opt,name=s" thrift:"5"`
+	X00  int64              `json:"x0,omitempty" protobuf:"varint,20,opt,name=x0" thrift:"20"`
+	X01  int64              `json:"x1,omitempty" protobuf:"varint,21,opt,name=x1" thrift:"21"`
+	X02  int64              `json:"x2,omitempty" protobuf:"varint,22,opt,name=x2" thrift:"22"`
+	X03  int64              `json:"x3,omitempty" protobuf:"varint,23,opt,name=x3" thrift:"23"`
+	X04  int64              `json:"x4,omitempty" protobuf:"varint,24,opt,name=x4" thrift:"24"`
+	X05  int64              `json:"x5,omitempty" protobuf:"varint,25,opt,name=x5" thrift:"25"`
+	X06  int64              `json:"x6,omitempty" protobuf:"varint,26,opt,name=x6" thrift:"26"`
+	X07  int64              `json:"x7,omitempty" protobuf:"varint,27,opt,name=x7" thrift:"27"`
+	X08  int64              `json:"x8,omitempty" protobuf:"varint,28,opt,name=x8" thrift:"28"`
+	X09  int64              `json:"x9,omitempty" protobuf:"varint,29,opt,name=x9" thrift:"29"`
+	X10  int64              `json:"x10,omitempty" protobuf:"varint,30,opt,name=x10" thrift:"30"`
+	X11  int64              `json:"x11,omitempty" protobuf:"varint,31,opt,name=x11" thrift:"31"`
+	X12  int64              `json:"x12,omitempty" protobuf:"varint,32,opt,name=x12" thrift:"32"`
+	X13  int64              `json:"x13,omitempty" protobuf:"varint,33,opt,name=x13" thrift:"33"`
+	X14  int64              `json:"x14,omitempty" protobuf:"varint,34,opt,name=x14" thrift:"34"`
+	X15  int64              `json:"x15,omitempty" protobuf:"varint,35,opt,name=x15" thrift:"35"`
+	X16  int64              `json:"x16,omitempty" protobuf:"varint,36,opt,name=x16" thrift:"36"`
+	X17  int64              `json:"x17,omitempty" protobuf:"varint,37,opt,name=x17" thrift:"37"`
+	X18  int64              `json:"x18,omitempty" protobuf:"varint,38,opt,name=x18" thrift:"38"`
+	X19  int64              `json:"x19,omitempty" protobuf:"varint,39,opt,name=x19" thrift:"39"`
+	X20  int64              `json:"x20,omitempty" protobuf:"varint,40,opt,name=x20" thrift:"40"`
+	X21  int64              `json:"x21,omitempty" protobuf:"varint,41,opt,name=x21" thrift:"41"`
+	X22  int64              `json:"x22,omitempty" protobuf:"varint,42,opt,name=x22" thrift:"42"`
+	X23  int64              `json:"x23,omitempty" protobuf:"varint,43,opt,name=x23" thrift:"43"`
 }
 
 type Peer121 struct {
@@ -1713,11 +4763,36 @@ type Peer121 struct {
 }
 
 type Rec122 struct {
-	V    int64    `json:"v" protobuf:"varint,1,opt,name=v" thrift:"1"`
-	Next *Rec122  `json:"next,omitempty" protobuf:"bytes,2,opt,name=next" thrift:"2"`
-	Kids []Rec122 `json:"kids,omitempty" protobuf:"bytes,3,rep,name=kids" thrift:"3"`
-	Peer *Peer122 `json:"peer,omitempty" protobuf:"bytes,4,opt,name=peer" thrift:"4"`
-	S    string   `json:"s,omitempty" protobuf:"bytes,5,opt,name=s" thrift:"5"`
+	M    map[string]Peer122 `json:"m,omitempty" protobuf:"bytes,6,rep,name=m" protobuf_key:"bytes,1,opt,name=key" protobuf_val:"bytes,2,opt,name=value" thrift:"6"`
+	V    int64              `json:"v" protobuf:"varint,1,opt,name=v" thrift:"1"`
+	Next *Rec122            `json:"next,omitempty" protobuf:"bytes,2,opt,name=next" thrift:"2"`
+	Kids []Rec122           `json:"kids,omitempty" protobuf:"bytes,3,rep,name=kids" thrift:"3"`
+	Peer *Peer122           `json:"peer,omitempty" protobuf:"bytes,4,opt,name=peer" thrift:"4"`
+	S    string             `json:"s,omitempty" protobuf:"bytes,5,opt,name=s" thrift:"5"`
+	X00  int64              `json:"x0,omitempty" protobuf:"varint,20,opt,name=x0" thrift:"20"`
+	X01  int64              `json:"x1,omitempty" protobuf:"varint,21,opt,name=x1" thrift:"21"`
+	X02  int64              `json:"x2,omitempty" protobuf:"varint,22,opt,name=x2" thrift:"22"`
+	X03  int64              `json:"x3,omitempty" protobuf:"varint,23,opt,name=x3" thrift:"23"`
+	X04  int64              `json:"x4,omitempty" protobuf:"varint,24,opt,name=x4" thrift:"24"`
+	X05  int64              `json:"x5,omitempty" protobuf:"varint,25,opt,name=x5" thrift:"25"`
+	X06  int64              `json:"x6,omitempty" protobuf:"varint,26,opt,name=x6" thrift:"26"`
+	X07  int64              `json:"x7,omitempty" protobuf:"varint,27,opt,name=x7" thrift:"27"`
+	X08  int64              `json:"x8,omitempty" protobuf:"varint,28,opt,name=x8" thrift:"28"`
+	X09  int64              `json:"x9,omitempty" protobuf:"varint,29,opt,name=x9" thrift:"29"`
+	X10  int64              `json:"x10,omitempty" protobuf:"varint,30,opt,name=x10" thrift:"30"`
+	X11  int64              `json:"x11,omitempty" protobuf:"varint,31,opt,name=x11" thrift:"31"`
+	X12  int64              `json:"x12,omitempty" protobuf:"varint,32,opt,name=x12" thrift:"32"`
+	X13  int64              `json:"x13,omitempty" protobuf:"varint,33,opt,name=x13" thrift:"33"`
+	X14  int64              `json:"x14,omitempty" protobuf:"varint,34,opt,name=x14" thrift:"34"`
+	X15  int64              `json:"x15,omitempty" protobuf:"varint,35,opt,name=x15" thrift:"35"`
+	X16  int64              `json:"x16,omitempty" protobuf:"varint,36,opt,name=x16" thrift:"36"`
+	X17  int64              `json:"x17,omitempty" protobuf:"varint,37,opt,name=x17" thrift:"37"`
+	X18  int64              `json:"x18,omitempty" protobuf:"varint,38,opt,name=x18" thrift:"38"`
+	X19  int64              `json:"x19,omitempty" protobuf:"varint,39,opt,name=x19" thrift:"39"`
+	X20  int64              `json:"x20,omitempty" protobuf:"varint,40,opt,name=x20" thrift:"40"`
+	X21  int64              `json:"x21,omitempty" protobuf:"varint,41,opt,name=x21" thrift:"41"`
+	X22  int64              `json:"x22,omitempty" protobuf:"varint,42,opt,name=x22" thrift:"42"`
+	X23  int64              `json:"x23,omitempty" protobuf:"varint,43,opt,name=x23" thrift:"43"`
 }
 
 type Peer122 struct {
@@ -1727,11 +4802,36 @@ type Peer122 struct {
 }
 
 type Rec123 struct {
-	V    int64    `json:"v" protobuf:"varint,1,opt,name=v" thrift:"1"`
-	Next *Rec123  `json:"next,omitempty" protobuf:"bytes,2,opt,name=next" thrift:"2"`
-	Kids []Rec123 `json:"kids,omitempty" protobuf:"bytes,3,rep,name=kids" thrift:"3"`
-	Peer *Peer123 `json:"peer,omitempty" protobuf:"bytes,4,opt,name=peer" thrift:"4"`
-	S    string   `json:"s,omitempty" protobuf:"bytes,5,opt,name=s" thrift:"5"`
+	M    map[string]Peer123 `json:"m,omitempty" protobuf:"bytes,6,rep,name=m" protobuf_key:"bytes,1,opt,name=key" protobuf_val:"bytes,2,opt,name=value" thrift:"6"`
+	V    int64              `json:"v" protobuf:"varint,1,opt,name=v" thrift:"1"`
+	Next *Rec123            `json:"next,omitempty" protobuf:"bytes,2,opt,name=next" thrift:"2"`
+	Kids []Rec123           `json:"kids,omitempty" protobuf:"bytes,3,rep,name=kids" thrift:"3"`
+	Peer *Peer123           `json:"peer,omitempty" protobuf:"bytes,4,opt,name=peer" thrift:"4"`
+	S    string             `json:"s,omitempty" protobuf:"bytes,5,opt,name=s" thrift:"5"`
+	X00  int64              `json:"x0,omitempty" protobuf:"varint,20,opt,name=x0" thrift:"20"`
+	X01  int64              `json:"x1,omitempty" protobuf:"varint,21,opt,name=x1" thrift:"21"`
+	X02  int64              `json:"x2,omitempty" protobuf:"varint,22,opt,name=x2" thrift:"22"`
+	X03  int64              `json:"x3,omitempty" protobuf:"varint,23,opt,name=x3" thrift:"23"`
+	X04  int64              `json:"x4,omitempty" protobuf:"varint,24,opt,name=x4" thrift:"24"`
+	X05  int64              `json:"x5,omitempty" protobuf:"varint,25,opt,name=x5" thrift:"25"`
+	X06  int64              `json:"x6,omitempty" protobuf:"varint,26,opt,name=x6" thrift:"26"`
+	X07  int64              `json:"x7,omitempty" protobuf:"varint,27,opt,name=x7" thrift:"27"`
+	X08  int64              `json:"x8,omitempty" protobuf:"varint,28,opt,name=x8" thrift:"28"`
+	X09  int64              `json:"x9,omitempty" protobuf:"varint,29,opt,name=x9" thrift:"29"`
+	X10  int64              `json:"x10,omitempty" protobuf:"varint,30,opt,name=x10" thrift:"30"`
+	X11  int64              `json:"x11,omitempty" protobuf:"varint,31,opt,name=x11" thrift:"31"`
+	X12  int64              `json:"x12,omitempty" protobuf:"varint,32,opt,name=x12" thrift:"32"`
+	X13  int64              `json:"x13,omitempty" protobuf:"varint,33,opt,name=x13" thrift:"33"`
+	X14  int64              `json:"x14,omitempty" protobuf:"varint,34,opt,name=x14" thrift:"34"`
+	X15  int64              `json:"x15,omitempty" protobuf:"varint,35,opt,name=x15" thrift:"35"`
+	X16  int64              `json:"x16,omitempty" protobuf:"varint,36,opt,name=x16" thrift:"36"`
+	X17  int64              `json:"x17,omitempty" protobuf:"varint,37,opt,name=x17" thrift:"37"`
+	X18  int64              `json:"x18,omitempty" protobuf:"varint,38,opt,name=x18" thrift:"38"`
+	X19  int64              `json:"x19,omitempty" protobuf:"varint,39,opt,name=x19" thrift:"39"`
+	X20  int64              `json:"x20,omitempty" protobuf:"varint,40,opt,name=x20" thrift:"40"`
+	X21  int64              `json:"x21,omitempty" protobuf:"varint,41,opt,name=x21" thrift:"41"`
+	X22  int64              `json:"x22,omitempty" protobuf:"varint,42,opt,name=x22" thrift:"42"`
+	X23  int64              `json:"x23,omitempty" protobuf:"varint,43,opt,name=x23" thrift:"43"`
 }
 
 type Peer123 struct {
@@ -1741,11 +4841,36 @@ type Peer123 struct {
 }
 
 type Rec124 struct {
-	V    int64    `json:"v" protobuf:"varint,1,opt,name=v" thrift:"1"`
-	Next *Rec124  `json:"next,omitempty" protobuf:"bytes,2,opt,name=next" thrift:"2"`
-	Kids []Rec124 `json:"kids,omitempty" protobuf:"bytes,3,rep,name=kids" thrift:"3"`
-	Peer *Peer124 `json:"peer,omitempty" protobuf:"bytes,4,opt,name=peer" thrift:"4"`
-	S    string   `json:"s,omitempty" protobuf:"bytes,5,opt,name=s" thrift:"5"`
+	M    map[string]Peer124 `json:"m,omitempty" protobuf:"bytes,6,rep,name=m" protobuf_key:"bytes,1,opt,name=key" protobuf_val:"bytes,2,opt,name=value" thrift:"6"`
+	V    int64              `json:"v" protobuf:"varint,1,opt,name=v" thrift:"1"`
+	Next *Rec124            `json:"next,omitempty" protobuf:"bytes,2,opt,name=next" thrift:"2"`
+	Kids []Rec124           `json:"kids,omitempty" protobuf:"bytes,3,rep,name=kids" thrift:"3"`
+	Peer *Peer124           `json:"peer,omitempty" protobuf:"bytes,4,opt,name=peer" thrift:"4"`
+	S    string             `json:"s,omitempty" protobuf:"bytes,5,opt,name=s" thrift:"5"`
+	X00  int64              `json:"x0,omitempty" protobuf:"varint,20,opt,name=x0" thrift:"20"`
+	X01  int64              `json:"x1,omitempty" protobuf:"varint,21,opt,name=x1" thrift:"21"`
+	X02  int64              `json:"x2,omitempty" protobuf:"varint,22,opt,name=x2" thrift:"22"`
+	X03  int64              `json:"x3,omitempty" protobuf:"varint,23,opt,name=x3" thrift:"23"`
+	X04  int64              `json:"x4,omitempty" protobuf:"varint,24,opt,name=x4" thrift:"24"`
+	X05  int64              `json:"x5,omitempty" protobuf:"varint,25,opt,name=x5" thrift:"25"`
+	X06  int64              `json:"x6,omitempty" protobuf:"varint,26,opt,name=x6" thrift:"26"`
+	X07  int64              `json:"x7,omitempty" protobuf:"varint,27,opt,name=x7" thrift:"27"`
+	X08  int64              `json:"x8,omitempty" protobuf:"varint,28,opt,name=x8" thrift:"28"`
+	X09  int64              `json:"x9,omitempty" protobuf:"varint,29,opt,name=x9" thrift:"29"`
+	X10  int64              `json:"x10,omitempty" protobuf:"varint,30,opt,name=x10" thrift:"30"`
+	X11  int64              `json:"x11,omitempty" protobuf:"varint,31,opt,name=x11" thrift:"31"`
+	X12  int64              `json:"x12,omitempty" protobuf:"varint,32,opt,name=x12" thrift:"32"`
+	X13  int64              `json:"x13,omitempty" protobuf:"varint,33,opt,name=x13" thrift:"33"`
+	X14  int64              `json:"x14,omitempty" protobuf:"varint,34,opt,name=x14" thrift:"34"`
+	X15  int64              `json:"x15,omitempty" protobuf:"varint,35,opt,name=x15" thrift:"35"`
+	X16  int64              `json:"x16,omitempty" protobuf:"varint,36,opt,name=x16" thrift:"36"`
+	X17  int64              `json:"x17,omitempty" protobuf:"varint,37,opt,name=x17" thrift:"37"`
+	X18  int64              `json:"x18,omitempty" protobuf:"varint,38,opt,name=x18" thrift:"38"`
+	X19  int64              `json:"x19,omitempty" protobuf:"varint,39,opt,name=x19" thrift:"39"`
+	X20  int64              `json:"x20,omitempty" protobuf:"varint,40,opt,name=x20" thrift:"40"`
+	X21  int64              `json:"x21,omitempty" protobuf:"varint,41,opt,name=x21" thrift:"41"`
+	X22  int64              `json:"x22,omitempty" protobuf:"varint,42,opt,name=x22" thrift:"42"`
+	X23  int64              `json:"x23,omitempty" protobuf:"varint,43,opt,name=x23" thrift:"43"`
 }
 
 type Peer124 struct {
@@ -1755,11 +4880,36 @@ type Peer124 struct {
 }
 
 type Rec125 struct {
-	V    int64    `json:"v" protobuf:"varint,1,opt,name=v" thrift:"1"`
-	Next *Rec125  `json:"next,omitempty" protobuf:"bytes,2,opt,name=next" thrift:"2"`
-	Kids []Rec125 `json:"kids,omitempty" protobuf:"bytes,3,rep,name=kids" thrift:"3"`
-	Peer *Peer125 `json:"peer,omitempty" protobuf:"bytes,4,opt,name=peer" thrift:"4"`
-	S    string   `json:"s,omitempty" protobuf:"bytes,5,opt,name=s" thrift:"5"`
+	M    map[string]Peer125 `json:"m,omitempty" protobuf:"bytes,6,rep,name=m" protobuf_key:"bytes,1,opt,name=key" protobuf_val:"bytes,2,opt,name=value" thrift:"6"`
+	V    int64              `json:"v" protobuf:"varint,1,opt,name=v" thrift:"1"`
+	Next *Rec125            `json:"next,omitempty" protobuf:"bytes,2,opt,name=next" thrift:"2"`
+	Kids []Rec125           `json:"kids,omitempty" protobuf:"bytes,3,rep,name=kids" thrift:"3"`
+	Peer *Peer125           `json:"peer,omitempty" protobuf:"bytes,4,opt,name=peer" thrift:"4"`
+	S    string             `json:"s,omitempty" protobuf:"bytes,5,opt,name=s" thrift:"5"`
+	X00  int64              `json:"x0,omitempty" protobuf:"varint,20,opt,name=x0" thrift:"20"`
+	X01  int64              `json:"x1,omitempty" protobuf:"varint,21,opt,name=x1" thrift:"21"`
+	X02  int64              `json:"x2,omitempty" protobuf:"varint,22,opt,name=x2" thrift:"22"`
+	X03  int64              `json:"x3,omitempty" protobuf:"varint,23,opt,name=x3" thrift:"23"`
+	X04  int64              `json:"x4,omitempty" protobuf:"varint,24,opt,name=x4" thrift:"24"`
+	X05  int64              `json:"x5,omitempty" protobuf:"varint,25,opt,name=x5" thrift:"25"`
+	X06  int64              `json:"x6,omitempty" protobuf:"varint,26,opt,name=x6" thrift:"26"`
+	X07  int64              `json:"x7,omitempty" protobuf:"varint,27,opt,name=x7" thrift:"27"`
+	X08  int64              `json:"x8,omitempty" protobuf:"varint,28,opt,name=x8" thrift:"28"`
+	X09  int64              `json:"x9,omitempty" protobuf:"varint,29,opt,name=x9" thrift:"29"`
+	X10  int64              `json:"x10,omitempty" protobuf:"varint,30,opt,name=x10" thrift:"30"`
+	X11  int64              `json:"x11,omitempty" protobuf:"varint,31,opt,name=x11" thrift:"31"`
+	X12  int64              `json:"x12,omitempty" protobuf:"varint,32,opt,name=x12" thrift:"32"`
+	X13  int64              `json:"x13,omitempty" protobuf:"varint,33,opt,name=x13" thrift:"33"`
+	X14  int64              `json:"x14,omitempty" protobuf:"varint,34,opt,name=x14" thrift:"34"`
+	X15  int64              `json:"x15,omitempty" protobuf:"varint,35,opt,name=x15" thrift:"35"`
+	X16  int64              `json:"x16,omitempty" protobuf:"varint,36,opt,name=x16" thrift:"36"`
+	X17  int64              `json:"x17,omitempty" protobuf:"varint,37,opt,name=x17" thrift:"37"`
+	X18  int64              `json:"x18,omitempty" protobuf:"varint,38,opt,name=x18" thrift:"38"`
+	X19  int64              `json:"x19,omitempty" protobuf:"varint,39,opt,name=x19" thrift:"39"`
+	X20  int64              `json:"x20,omitempty" protobuf:"varint,40,opt,name=x20" thrift:"40"`
+	X21  int64              `json:"x21,omitempty" protobuf:"varint,41,opt,name=x21" thrift:"41"`
+	X22  int64              `json:"x22,omitempty" protobuf:"varint,42,opt,name=x22" thrift:"42"`
+	X23  int64              `json:"x23,omitempty" protobuf:"varint,43,opt,name=x23" thrift:"43"`
 }
 
 type Peer125 struct {
@@ -1769,11 +4919,36 @@ type Peer125 struct {
 }
 
 type Rec126 struct {
-	V    int64    `json:"v" protobuf:"varint,1,opt,name=v" thrift:"1"`
-	Next *Rec126  `json:"next,omitempty" protobuf:"bytes,2,opt,name=next" thrift:"2"`
-	Kids []Rec126 `json:"kids,omitempty" protobuf:"bytes,3,rep,name=kids" thrift:"3"`
-	Peer *Peer126 `json:"peer,omitempty" protobuf:"bytes,4,opt,name=peer" thrift:"4"`
-	S    string   `json:"s,omitempty" protobuf:"bytes,5,opt,name=s" thrift:"5"`
+	M    map[string]Peer126 `json:"m,omitempty" protobuf:"bytes,6,rep,name=m" protobuf_key:"bytes,1,opt,name=key" protobuf_val:"bytes,2,opt,name=value" thrift:"6"`
+	V    int64              `json:"v" protobuf:"varint,1,opt,name=v" thrift:"1"`
+	Next *Rec126            `json:"next,omitempty" protobuf:"bytes,2,opt,name=next" thrift:"2"`
+	Kids []Rec126           `json:"kids,omitempty" protobuf:"bytes,3,rep,name=kids" thrift:"3"`
+	Peer *Peer126           `json:"peer,omitempty" protobuf:"bytes,4,opt,name=peer" thrift:"4"`
+	S    string             `json:"s,omitempty" protobuf:"bytes,5,opt,name=s" thrift:"5"`
+	X00  int64              `json:"x0,omitempty" protobuf:"varint,20,opt,name=x0" thrift:"20"`
+	X01  int64              `json:"x1,omitempty" protobuf:"varint,21,opt,name=x1" thrift:"21"`
+	X02  int64              `json:"x2,omitempty" protobuf:"varint,22,opt,name=x2" thrift:"22"`
+	X03  int64              `json:"x3,omitempty" protobuf:"varint,23,opt,name=x3" thrift:"23"`
+	X04  int64              `json:"x4,omitempty" protobuf:"varint,24,opt,name=x4" thrift:"24"`
+	X05  int64              `json:"x5,omitempty" protobuf:"varint,25,opt,name=x5" thrift:"25"`
+	X06  int64              `json:"x6,omitempty" protobuf:"varint,26,opt,name=x6" thrift:"26"`
+	X07  int64              `json:"x7,omitempty" protobuf:"varint,27,opt,name=x7" thrift:"27"`
+	X08  int64              `json:"x8,omitempty" protobuf:"varint,28,opt,name=x8" thrift:"28"`
+	X09  int64              `json:"x9,omitempty" protobuf:"varint,29,opt,name=x9" thrift:"29"`
+	X10  int64              `json:"x10,omitempty" protobuf:"varint,30,opt,name=x10" thrift:"30"`
+	X11  int64              `json:"x11,omitempty" protobuf:"varint,31,opt,name=x11" thrift:"31"`
+	X12  int64              `json:"x12,omitempty" protobuf:"varint,32,opt,name=x12" thrift:"32"`
+	X13  int64              `json:"x13,omitempty" protobuf:"varint,33,opt,name=x13" thrift:"33"`
+	X14  int64              `json:"x14,omitempty" protobuf:"varint,34,opt,name=x14" thrift:"34"`
+	X15  int64              `json:"x15,omitempty" protobuf:"varint,35,opt,name=x15" thrift:"35"`
+	X16  int64              `json:"x16,omitempty" protobuf:"varint,36,opt,name=x16" thrift:"36"`
+	X17  int64              `json:"x17,omitempty" protobuf:"varint,37,opt,name=x17" thrift:"37"`
+	X18  int64              `json:"x18,omitempty" protobuf:"varint,38,opt,name=x18" thrift:"38"`
+	X19  int64              `json:"x19,omitempty" protobuf:"varint,39,opt,name=x19" thrift:"39"`
+	X20  int64              `json:"x20,omitempty" protobuf:"varint,40,opt,name=x20" thrift:"40"`
+	X21  int64              `json:"x21,omitempty" protobuf:"varint,41,opt,name=x21" thrift:"41"`
+	X22  int64              `json:"x22,omitempty" protobuf:"varint,42,opt,name=x22" thrift:"42"`
+	X23  int64              `json:"x23,omitempty" protobuf:"varint,43,opt,name=x23" thrift:"43"`
 }
 
 type Peer126 struct {
@@ -1783,11 +4958,36 @@ type Peer126 struct {
 }
 
 type Rec127 struct {
-	V    int64    `json:"v" protobuf:"varint,1,opt,name=v" thrift:"1"`
-	Next *Rec127  `json:"next,omitempty" protobuf:"bytes,2,opt,name=next" thrift:"2"`
-	Kids []Rec127 `json:"kids,omitempty" protobuf:"bytes,3,rep,name=kids" thrift:"3"`
-	Peer *Peer127 `json:"peer,omitempty" protobuf:"bytes,4,opt,name=peer" thrift:"4"`
-	S    string   `json:"s,omitempty" protobuf:"bytes,5,opt,name=s" thrift:"5"`
+	M    map[string]Peer127 `json:"m,omitempty" protobuf:"bytes,6,rep,name=m" protobuf_key:"bytes,1,opt,name=key" protobuf_val:"bytes,2,opt,name=value" thrift:"6"`
+	V    int64              `json:"v" protobuf:"varint,1,opt,name=v" thrift:"1"`
+	Next *Rec127            `json:"next,omitempty" protobuf:"bytes,2,opt,name=next" thrift:"2"`
+	Kids []Rec127           `json:"kids,omitempty" protobuf:"bytes,3,rep,name=kids" thrift:"3"`
+	Peer *Peer127           `json:"peer,omitempty" protobuf:"bytes,4,opt,name=peer" thrift:"4"`
+	S    string             `json:"s,omitempty" protobuf:"bytes,5,opt,name=s" thrift:"5"`
+	X00  int64              `json:"x0,omitempty" protobuf:"varint,20,opt,name=x0" thrift:"20"`
+	X01  int64              `json:"x1,omitempty" protobuf:"varint,21,opt,name=x1" thrift:"21"`
+	X02  int64              `json:"x2,omitempty" protobuf:"varint,22,opt,name=x2" thrift:"22"`
+	X03  int64              `json:"x3,omitempty" protobuf:"varint,23,opt,name=x3" thrift:"23"`
+	X04  int64              `json:"x4,omitempty" protobuf:"varint,24,opt,name=x4" thrift:"24"`
+	X05  int64              `json:"x5,omitempty" protobuf:"varint,25,opt,name=x5" thrift:"25"`
+	X06  int64              `json:"x6,omitempty" protobuf:"varint,26,opt,name=x6" thrift:"26"`
+	X07  int64              `json:"x7,omitempty" protobuf:"varint,27,opt,name=x7" thrift:"27"`
+	X08  int64              `json:"x8,omitempty" protobuf:"varint,28,opt,name=x8" thrift:"28"`
+	X09  int64              `json:"x9,omitempty" protobuf:"varint,29,opt,name=x9" thrift:"29"`
+	X10  int64              `json:"x10,omitempty" protobuf:"varint,30,opt,name=x10" thrift:"30"`
+	X11  int64              `json:"x11,omitempty" protobuf:"varint,31,opt,name=x11" thrift:"31"`
+	X12  int64              `json:"x12,omitempty" protobuf:"varint,32,opt,name=x12" thrift:"32"`
+	X13  int64              `json:"x13,omitempty" protobuf:"varint,33,opt,name=x13" thrift:"33"`
+	X14  int64              `json:"x14,omitempty" protobuf:"varint,34,opt,name=x14" thrift:"34"`
+	X15  int64              `json:"x15,omitempty" protobuf:"varint,35,opt,name=x15" thrift:"35"`
+	X16  int64              `json:"x16,omitempty" protobuf:"varint,36,opt,name=x16" thrift:"36"`
+	X17  int64              `json:"x17,omitempty" protobuf:"varint,37,opt,name=x17" thrift:"37"`
+	X18  int64              `json:"x18,omitempty" protobuf:"varint,38,opt,name=x18" thrift:"38"`
+	X19  int64              `json:"x19,omitempty" protobuf:"varint,39,opt,name=x19" thrift:"39"`
+	X20  int64              `json:"x20,omitempty" protobuf:"varint,40,opt,name=x20" thrift:"40"`
+	X21  int64              `json:"x21,omitempty" protobuf:"varint,41,opt,name=x21" thrift:"41"`
+	X22  int64              `json:"x22,omitempty" protobuf:"varint,42,opt,name=x22" thrift:"42"`
+	X23  int64              `json:"x23,omitempty" protobuf:"varint,43,opt,name=x23" thrift:"43"`
 }
 
 type Peer127 struct {
@@ -1797,11 +4997,36 @@ type Peer127 struct {
 }
 
 type Rec128 struct {
-	V    int64    `json:"v" protobuf:"varint,1,opt,name=v" thrift:"1"`
-	Next *Rec128  `json:"next,omitempty" protobuf:"bytes,2,opt,name=next" thrift:"2"`
-	Kids []Rec128 `json:"kids,omitempty" protobuf:"bytes,3,rep,name=kids" thrift:"3"`
-	Peer *Peer128 `json:"peer,omitempty" protobuf:"bytes,4,opt,name=peer" thrift:"4"`
-	S    string   `json:"s,omitempty" protobuf:"bytes,5,opt,name=s" thrift:"5"`
+	M    map[string]Peer128 `json:"m,omitempty" protobuf:"bytes,6,rep,name=m" protobuf_key:"bytes,1,opt,name=key" protobuf_val:"bytes,2,opt,name=value" thrift:"6"`
+	V    int64              `json:"v" protobuf:"varint,1,opt,name=v" thrift:"1"`
+	Next *Rec128            `json:"next,omitempty" protobuf:"bytes,2,opt,name=next" thrift:"2"`
+	Kids []Rec128           `json:"kids,omitempty" protobuf:"bytes,3,rep,name=kids" thrift:"3"`
+	Peer *Peer128           `json:"peer,omitempty" protobuf:"bytes,4,opt,name=peer" thrift:"4"`
+	S    string             `json:"s,omitempty" protobuf:"bytes,5,opt,name=s" thrift:"5"`
+	X00  int64              `json:"x0,omitempty" protobuf:"varint,20,opt,name=x0" thrift:"20"`
+	X01  int64              `json:"x1,omitempty" protobuf:"varint,21,opt,name=x1" thrift:"21"`
+	X02  int64              `json:"x2,omitempty" protobuf:"varint,22,opt,name=x2" thrift:"22"`
+	X03  int64              `json:"x3,omitempty" protobuf:"varint,23,opt,name=x3" thrift:"23"`
+	X04  int64              `json:"x4,omitempty" protobuf:"varint,24,opt,name=x4" thrift:"24"`
+	X05  int64              `json:"x5,omitempty" protobuf:"varint,25,opt,name=x5" thrift:"25"`
+	X06  int64              `json:"x6,omitempty" protobuf:"varint,26,opt,name=x6" thrift:"26"`
+	X07  int64              `json:"x7,omitempty" protobuf:"varint,27,opt,name=x7" thrift:"27"`
+	X08  int64              `json:"x8,omitempty" protobuf:"varint,28,opt,name=x8" thrift:"28"`
+	X09  int64              `json:"x9,omitempty" protobuf:"varint,29,opt,name=x9" thrift:"29"`
+	X10  int64              `json:"x10,omitempty" protobuf:"varint,30,opt,name=x10" thrift:"30"`
+	X11  int64              `json:"x11,omitempty" protobuf:"varint,31,opt,name=x11" thrift:"31"`
+	X12  int64              `json:"x12,omitempty" protobuf:"varint,32,opt,name=x12" thrift:"32"`
+	X13  int64              `json:"x13,omitempty" protobuf:"varint,33,opt,name=x13" thrift:"33"`
+	X14  int64              `json:"x14,omitempty" protobuf:"varint,34,opt,name=x14" thrift:"34"`
+	X15  int64              `json:"x15,omitempty" protobuf:"varint,35,opt,name=x15" thrift:"35"`
+	X16  int64              `json:"x16,omitempty" protobuf:"varint,36,opt,name=x16" thrift:"36"`
+	X17  int64              `json:"x17,omitempty" protobuf:"varint,37,opt,name=x17" thrift:"37"`
+	X18  int64              `json:"x18,omitempty" protobuf:"varint,38,opt,name=x18" thrift:"38"`
+	X19  int64              `json:"x19,omitempty" protobuf:"varint,39,opt,name=x19" thrift:"39"`
+	X20  int64              `json:"x20,omitempty" protobuf:"varint,40,opt,name=x20" thrift:"40"`
+	X21  int64              `json:"x21,omitempty" protobuf:"varint,41,opt,name=x21" thrift:"41"`
+	X22  int64              `json:"x22,omitempty" protobuf:"varint,42,opt,name=x22" thrift:"42"`
+	X23  int64              `json:"x23,omitempty" protobuf:"varint,43,opt,name=x23" thrift:"43"`
 }
 
 type Peer128 struct {
@@ -1811,11 +5036,36 @@ type Peer128 struct {
 }
 
 type Rec129 struct {
-	V    int64    `json:"v" protobuf:"varint,1,opt,name=v" thrift:"1"`
-	Next *Rec129  `json:"next,omitempty" protobuf:"bytes,2,opt,name=next" thrift:"2"`
-	Kids []Rec129 `json:"kids,omitempty" protobuf:"bytes,3,rep,name=kids" thrift:"3"`
-	Peer *Peer129 `json:"peer,omitempty" protobuf:"bytes,4,opt,name=peer" thrift:"4"`
-	S    string   `json:"s,omitempty" protobuf:"bytes,5,opt,name=s" thrift:"5"`
+	M    map[string]Peer129 `json:"m,omitempty" protobuf:"bytes,6,rep,name=m" protobuf_key:"bytes,1,opt,name=key" protobuf_val:"bytes,2,opt,name=value" thrift:"6"`
+	V    int64              `json:"v" protobuf:"varint,1,opt,name=v" thrift:"1"`
+	Next *Rec129            `json:"next,omitempty" protobuf:"bytes,2,opt,name=next" thrift:"2"`
+	Kids []Rec129           `json:"kids,omitempty" protobuf:"bytes,3,rep,name=kids" thrift:"3"`
+	Peer *Peer129           `json:"peer,omitempty" protobuf:"bytes,4,opt,name=peer" thrift:"4"`
+	S    string             `json:"s,omitempty" protobuf:"bytes,5,opt,name=s" thrift:"5"`
+	X00  int64              `json:"x0,omitempty" protobuf:"varint,20,opt,name=x0" thrift:"20"`
+	X01  int64              `json:"x1,omitempty" protobuf:"varint,21,opt,name=x1" thrift:"21"`
+	X02  int64              `json:"x2,omitempty" protobuf:"varint,22,opt,name=x2" thrift:"22"`
+	X03  int64              `json:"x3,omitempty" protobuf:"varint,23,opt,name=x3" thrift:"23"`
+	X04  int64              `json:"x4,omitempty" protobuf:"varint,24,opt,name=x4" thrift:"24"`
+	X05  int64              `json:"x5,omitempty" protobuf:"varint,25,opt,name=x5" thrift:"25"`
+	X06  int64              `json:"x6,omitempty" protobuf:"varint,26,opt,name=x6" thrift:"26"`
+	X07  int64              `json:"x7,omitempty" protobuf:"varint,27,opt,name=x7" thrift:"27"`
+	X08  int64              `json:"x8,omitempty" protobuf:"varint,28,opt,name=x8" thrift:"28"`
+	X09  int64              `json:"x9,omitempty" protobuf:"varint,29,opt,name=x9" thrift:"29"`
+	X10  int64              `json:"x10,omitempty" protobuf:"varint,30,opt,name=x10" thrift:"30"`
+	X11  int64              `json:"x11,omitempty" protobuf:"varint,31,opt,name=x11" thrift:"31"`
+	X12  int64              `json:"x12,omitempty" protobuf:"varint,32,opt,name=x12" thrift:"32"`
+	X13  int64              `json:"x13,omitempty" protobuf:"varint,33,opt,name=x13" thrift:"33"`
+	X14  int64              `json:"x14,omitempty" protobuf:"varint,34,opt,name=x14" thrift:"34"`
+	X15  int64              `json:"x15,omitempty" protobuf:"varint,35,opt,name=x15" thrift:"35"`
+	X16  int64              `json:"x16,omitempty" protobuf:"varint,36,opt,name=x16" thrift:"36"`
+	X17  int64              `json:"x17,omitempty" protobuf:"varint,37,opt,name=x17" thrift:"37"`
+	X18  int64              `json:"x18,omitempty" protobuf:"varint,38,opt,name=x18" thrift:"38"`
+	X19  int64              `json:"x19,omitempty" protobuf:"varint,39,opt,name=x19" thrift:"39"`
+	X20  int64              `json:"x20,omitempty" protobuf:"varint,40,opt,name=x20" thrift:"40"`
+	X21  int64              `json:"x21,omitempty" protobuf:"varint,41,opt,name=x21" thrift:"41"`
+	X22  int64              `json:"x22,omitempty" protobuf:"varint,42,opt,name=x22" thrift:"42"`
+	X23  int64              `json:"x23,omitempty" protobuf:"varint,43,opt,name=x23" thrift:"43"`
 }
 
 type Peer129 struct {
@@ -1825,11 +5075,36 @@ type Peer129 struct {
 }
 
 type Rec130 struct {
-	V    int64    `json:"v" protobuf:"varint,1,opt,name=v" thrift:"1"`
-	Next *Rec130  `json:"next,omitempty" protobuf:"bytes,2,opt,name=next" thrift:"2"`
-	Kids []Rec130 `json:"kids,omitempty" protobuf:"bytes,3,rep,name=kids" thrift:"3"`
-	Peer *Peer130 `json:"peer,omitempty" protobuf:"bytes,4,opt,name=peer" thrift:"4"`
-	S    string   `json:"s,omitempty" protobuf:"bytes,5,opt,name=s" thrift:"5"`
+	M    map[string]Peer130 `json:"m,omitempty" protobuf:"bytes,6,rep,name=m" protobuf_key:"bytes,1,opt,name=key" protobuf_val:"bytes,2,opt,name=value" thrift:"6"`
+	V    int64              `json:"v" protobuf:"varint,1,opt,name=v" thrift:"1"`
+	Next *Rec130            `json:"next,omitempty" protobuf:"bytes,2,opt,name=next" thrift:"2"`
+	Kids []Rec130           `json:"kids,omitempty" protobuf:"bytes,3,rep,name=kids" thrift:"3"`
+	Peer *Peer130           `json:"peer,omitempty" protobuf:"bytes,4,opt,name=peer" thrift:"4"`
+	S    string             `json:"s,omitempty" protobuf:"bytes,5,opt,name=s" thrift:"5"`
+	X00  int64              `json:"x0,omitempty" protobuf:"varint,20,opt,name=x0" thrift:"20"`
+	X01  int64              `json:"x1,omitempty" protobuf:"varint,21,opt,name=x1" thrift:"21"`
+	X02  int64              `json:"x2,omitempty" protobuf:"varint,22,opt,name=x2" thrift:"22"`
+	X03  int64              `json:"x3,omitempty" protobuf:"varint,23,opt,name=x3" thrift:"23"`
+	X04  int64              `json:"x4,omitempty" protobuf:"varint,24,opt,name=x4" thrift:"24"`
+	X05  int64              `json:"x5,omitempty" protobuf:"varint,25,opt,name=x5" thrift:"25"`
+	X06  int64              `json:"x6,omitempty" protobuf:"varint,26,opt,name=x6" thrift:"26"`
+	X07  int64              `json:"x7,omitempty" protobuf:"varint,27,opt,name=x7" thrift:"27"`
+	X08  int64              `json:"x8,omitempty" protobuf:"varint,28,opt,name=x8" thrift:"28"`
+	X09  int64              `json:"x9,omitempty" protobuf:"varint,29,opt,name=x9" thrift:"29"`
+	X10  int64              `json:"x10,omitempty" protobuf:"varint,30,opt,name=x10" thrift:"30"`
+	X11  int64              `json:"x11,omitempty" protobuf:"varint,31,opt,name=x11" thrift:"31"`
+	X12  int64              `json:"x12,omitempty" protobuf:"varint,32,opt,name=x12" thrift:"32"`
+	X13  int64              `json:"x13,omitempty" protobuf:"varint,33,opt,name=x13" thrift:"33"`
+	X14  int64              `json:"x14,omitempty" protobuf:"varint,34,opt,name=x14" thrift:"34"`
+	X15  int64              `json:"x15,omitempty" protobuf:"varint,35,opt,name=x15" thrift:"35"`
+	X16  int64              `json:"x16,omitempty" protobuf:"varint,36,opt,name=x16" thrift:"36"`
+	X17  int64              `json:"x17,omitempty" protobuf:"varint,37,opt,name=x17" thrift:"37"`
+	X18  int64              `json:"x18,omitempty" protobuf:"varint,38,opt,name=x18" thrift:"38"`
+	X19  int64              `json:"x19,omitempty" protobuf:"varint,39,opt,name=x19" thrift:"39"`
+	X20  int64              `json:"x20,omitempty" protobuf:"varint,40,opt,name=x20" thrift:"40"`
+	X21  int64              `json:"x21,omitempty" protobuf:"varint,41,opt,name=x21" thrift:"41"`
+	X22  int64              `json:"x22,omitempty" protobuf:"varint,42,opt,name=x22" thrift:"42"`
+	X23  int64              `json:"x23,omitempty" protobuf:"varint,43,opt,name=x23" thrift:"43"`
 }
 
 type Peer130 struct {
@@ -1839,11 +5114,36 @@ type Peer130 struct {
 }
 
 type Rec131 struct {
-	V    int64    `json:"v" protobuf:"varint,1,opt,name=v" thrift:"1"`
-	Next *Rec131  `json:"next,omitempty" protobuf:"bytes,2,opt,name=next" thrift:"2"`
-	Kids []Rec131 `json:"kids,omitempty" protobuf:"bytes,3,rep,name=kids" thrift:"3"`
-	Peer *Peer131 `json:"peer,omitempty" protobuf:"bytes,4,opt,name=peer" thrift:"4"`
-	S    string   `json:"s,omitempty" protobuf:"bytes,5,opt,name=s" thrift:"5"`
+	M    map[string]Peer131 `json:"m,omitempty" protobuf:"bytes,6,rep,name=m" protobuf_key:"bytes,1,opt,name=key" protobuf_val:"bytes,2,opt,name=value" thrift:"6"`
+	V    int64              `json:"v" protobuf:"varint,1,opt,name=v" thrift:"1"`
+	Next *Rec131            `json:"next,omitempty" protobuf:"bytes,2,opt,name=next" thrift:"2"`
+	Kids []Rec131           `json:"kids,omitempty" protobuf:"bytes,3,rep,name=kids" thrift:"3"`
+	Peer *Peer131           `json:"peer,omitempty" protobuf:"bytes,4,opt,name=peer" thrift:"4"`
+	S    string             `json:"s,omitempty" protobuf:"bytes,5,opt,name=s" thrift:"5"`
+	X00  int64              `json:"x0,omitempty" protobuf:"varint,20,opt,name=x0" thrift:"20"`
+	X01  int64              `json:"x1,omitempty" protobuf:"varint,21,opt,name=x1" thrift:"21"`
+	X02  int64              `json:"x2,omitempty" protobuf:"varint,22,opt,name=x2" thrift:"22"`
+	X03  int64              `json:"x3,omitempty" protobuf:"varint,23,opt,name=x3" thrift:"23"`
+	X04  int64              `json:"x4,omitempty" protobuf:"varint,24,opt,name=x4" thrift:"24"`
+	X05  int64              `json:"x5,omitempty" protobuf:"varint,25,opt,name=x5" thrift:"25"`
+	X06  int64              `json:"x6,omitempty" protobuf:"varint,26,opt,name=x6" thrift:"26"`
+	X07  int64              `json:"x7,omitempty" protobuf:"varint,27,opt,name=x7" thrift:"27"`
+	X08  int64              `json:"x8,omitempty" protobuf:"varint,28,opt,name=x8" thrift:"28"`
+	X09  int64              `json:"x9,omitempty" protobuf:"varint,29,opt,name=x9" thrift:"29"`
+	X10  int64              `json:"x10,omitempty" protobuf:"varint,30,opt,name=x10" thrift:"30"`
+	X11  int64              `json:"x11,omitempty" protobuf:"varint,31,opt,name=x11" thrift:"31"`
+	X12  int64              `json:"x12,omitempty" protobuf:"varint,32,opt,name=x12" thrift:"32"`
+	X13  int64              `json:"x13,omitempty" protobuf:"varint,33,opt,name=x13" thrift:"33"`
+	X14  int64              `json:"x14,omitempty" protobuf:"varint,34,opt,name=x14" thrift:"34"`
+	X15  int64              `json:"x15,omitempty" protobuf:"varint,35,opt,name=x15" thrift:"35"`
+	X16  int64              `json:"x16,omitempty" protobuf:"varint,36,opt,name=x16" thrift:"36"`
+	X17  int64              `json:"x17,omitempty" protobuf:"varint,37,opt,name=x17" thrift:"37"`
+	X18  int64              `json:"x18,omitempty" protobuf:"varint,38,opt,name=x18" thrift:"38"`
+	X19  int64              `json:"x19,omitempty" protobuf:"varint,39,opt,name=x19" thrift:"39"`
+	X20  int64              `json:"x20,omitempty" protobuf:"varint,40,opt,name=x20" thrift:"40"`
+	X21  int64              `json:"x21,omitempty" protobuf:"varint,41,opt,name=x21" thrift:"41"`
+	X22  int64              `json:"x22,omitempty" protobuf:"varint,42,opt,name=x22" thrift:"42"`
+	X23  int64              `json:"x23,omitempty" protobuf:"varint,43,opt,name=x23" thrift:"43"`
 }
 
 type Peer131 struct {
@@ -1853,11 +5153,36 @@ type Peer131 struct {
 }
 
 type Rec132 struct {
-	V    int64    `json:"v" protobuf:"varint,1,opt,name=v" thrift:"1"`
-	Next *Rec132  `json:"next,omitempty" protobuf:"bytes,2,opt,name=next" thrift:"2"`
-	Kids []Rec132 `json:"kids,omitempty" protobuf:"bytes,3,rep,name=kids" thrift:"3"`
-	Peer *Peer132 `json:"peer,omitempty" protobuf:"bytes,4,opt,name=peer" thrift:"4"`
-	S    string   `json:"s,omitempty" protobuf:"bytes,5,opt,name=s" thrift:"5"`
+	M    map[string]Peer132 `json:"m,omitempty" protobuf:"bytes,6,rep,name=m" protobuf_key:"bytes,1,opt,name=key" protobuf_val:"bytes,2,opt,name=value" thrift:"6"`
+	V    int64              `json:"v" protobuf:"varint,1,opt,name=v" thrift:"1"`
+	Next *Rec132            `json:"next,omitempty" protobuf:"bytes,2,opt,name=next" thrift:"2"`
+	Kids []Rec132           `json:"kids,omitempty" protobuf:"bytes,3,rep,name=kids" thrift:"3"`
+	Peer *Peer132           `json:"peer,omitempty" protobuf:"bytes,4,opt,name=peer" thrift:"4"`
+	S    string             `json:"s,omitempty" protobuf:"bytes,5,opt,name=s" thrift:"5"`
+	X00  int64              `json:"x0,omitempty" protobuf:"varint,20,opt,name=x0" thrift:"20"`
+	X01  int64              `json:"x1,omitempty" protobuf:"varint,21,opt,name=x1" thrift:"21"`
+	X02  int64              `json:"x2,omitempty" protobuf:"varint,22,opt,name=x2" thrift:"22"`
+	X03  int64              `json:"x3,omitempty" protobuf:"varint,23,opt,name=x3" thrift:"23"`
+	X04  int64              `json:"x4,omitempty" protobuf:"varint,24,opt,name=x4" thrift:"24"`
+	X05  int64              `json:"x5,omitempty" protobuf:"varint,25,opt,name=x5" thrift:"25"`
+	X06  int64              `json:"x6,omitempty" protobuf:"varint,26,opt,name=x6" thrift:"26"`
+	X07  int64              `json:"x7,omitempty" protobuf:"varint,27,opt,name=x7" thrift:"27"`
+	X08  int64              `json:"x8,omitempty" protobuf:"varint,28,opt,name=x8" thrift:"28"`
+	X09  int64              `json:"x9,omitempty" protobuf:"varint,29,opt,name=x9" thrift:"29"`
+	X10  int64              `json:"x10,omitempty" protobuf:"varint,30,opt,name=x10" thrift:"30"`
+	X11  int64              `json:"x11,omitempty" protobuf:"varint,31,opt,name=x11" thrift:"31"`
+	X12  int64              `json:"x12,omitempty" protobuf:"varint,32,opt,name=x12" thrift:"32"`
+	X13  int64              `json:"x13,omitempty" protobuf:"varint,33,opt,name=x13" thrift:"33"`
+	X14  int64              `json:"x14,omitempty" protobuf:"varint,34,opt,name=x14" thrift:"34"`
+	X15  int64              `json:"x15,omitempty" protobuf:"varint,35,opt,name=x15" thrift:"35"`
+	X16  int64              `json:"x16,omitempty" protobuf:"varint,36,opt,name=x16" thrift:"36"`
+	X17  int64              `json:"x17,omitempty" protobuf:"varint,37,opt,name=x17" thrift:"37"`
+	X18  int64              `json:"x18,omitempty" protobuf:"varint,38,opt,name=x18" thrift:"38"`
+	X19  int64              `json:"x19,omitempty" protobuf:"varint,39,opt,name=x19" thrift:"39"`
+	X20  int64              `json:"x20,omitempty" protobuf:"varint,40,opt,name=x20" thrift:"40"`
+	X21  int64              `json:"x21,omitempty" protobuf:"varint,41,opt,name=x21" thrift:"41"`
+	X22  int64              `json:"x22,omitempty" protobuf:"varint,42,opt,name=x22" thrift:"42"`
+	X23  int64              `json:"x23,omitempty" protobuf:"varint,43,opt,name=x23" thrift:"43"`
 }
 
 type Peer132 struct {
@@ -1867,11 +5192,36 @@ type Peer132 struct {
 }
 
 type Rec133 struct {
-	V    int64    `json:"v" protobuf:"varint,1,opt,name=v" thrift:"1"`
-	Next *Rec133  `json:"next,omitempty" protobuf:"bytes,2,opt,name=next" thrift:"2"`
-	Kids []Rec133 `json:"kids,omitempty" protobuf:"bytes,3,rep,name=kids" thrift:"3"`
-	Peer *Peer133 `json:"peer,omitempty" protobuf:"bytes,4,opt,name=peer" thrift:"4"`
-	S    string   `json:"s,omitempty" protobuf:"bytes,5,opt,name=s" thrift:"5"`
+	M    map[string]Peer133 `json:"m,omitempty" protobuf:"bytes,6,rep,name=m" protobuf_key:"bytes,1,opt,name=key" protobuf_val:"bytes,2,opt,name=value" thrift:"6"`
+	V    int64              `json:"v" protobuf:"varint,1,opt,name=v" thrift:"1"`
+	Next *Rec133            `json:"next,omitempty" protobuf:"bytes,2,opt,name=next" thrift:"2"`
+	Kids []Rec133           `json:"kids,omitempty" protobuf:"bytes,3,rep,name=kids" thrift:"3"`
+	Peer *Peer133           `json:"peer,omitempty" protobuf:"bytes,4,opt,name=peer" thrift:"4"`
+	S    string             `json:"s,omitempty" protobuf:"bytes,5,opt,name=s" thrift:"5"`
+	X00  int64              `json:"x0,omitempty" protobuf:"varint,20,opt,name=x0" thrift:"20"`
+	X01  int64              `json:"x1,omitempty" protobuf:"varint,21,opt,name=x1" thrift:"21"`
+	X02  int64              `json:"x2,omitempty" protobuf:"varint,22,opt,name=x2" thrift:"22"`
+	X03  int64              `json:"x3,omitempty" protobuf:"varint,23,opt,name=x3" thrift:"23"`
+	X04  int64              `json:"x4,omitempty" protobuf:"varint,24,opt,name=x4" thrift:"24"`
+	X05  int64              `json:"x5,omitempty" protobuf:"varint,25,opt,name=x5" thrift:"25"`
+	X06  int64              `json:"x6,omitempty" protobuf:"varint,26,opt,name=x6" thrift:"26"`
+	X07  int64              `json:"x7,omitempty" protobuf:"varint,27,opt,name=x7" thrift:"27"`
+	X08  int64              `json:"x8,omitempty" protobuf:"varint,28,opt,name=x8" thrift:"28"`
+	X09  int64              `json:"x9,omitempty" protobuf:"varint,29,opt,name=x9" thrift:"29"`
+	X10  int64              `json:"x10,omitempty" protobuf:"varint,30,opt,name=x10" thrift:"30"`
+	X11  int64              `json:"x11,omitempty" protobuf:"varint,31,opt,name=x11" thrift:"31"`
+	X12  int64              `json:"x12,omitempty" protobuf:"varint,32,opt,name=x12" thrift:"32"`
+	X13  int64              `json:"x13,omitempty" protobuf:"varint,33,opt,name=x13" thrift:"33"`
+	X14  int64              `json:"x14,omitempty" protobuf:"varint,34,opt,name=x14" thrift:"34"`
+	X15  int64              `json:"x15,omitempty" protobuf:"varint,35,opt,name=x15" thrift:"35"`
+	X16  int64              `json:"x16,omitempty" protobuf:"varint,36,opt,name=x16" thrift:"36"`
+	X17  int64              `json:"x17,omitempty" protobuf:"varint,37,opt,name=x17" thrift:"37"`
+	X18  int64              `json:"x18,omitempty" protobuf:"varint,38,opt,name=x18" thrift:"38"`
+	X19  int64              `json:"x19,omitempty" protobuf:"varint,39,opt,name=x19" thrift:"39"`
+	X20  int64              `json:"x20,omitempty" protobuf:"varint,40,opt,name=x20" thrift:"40"`
+	X21  int64              `json:"x21,omitempty" protobuf:"varint,41,opt,name=x21" thrift:"41"`
+	X22  int64              `json:"x22,omitempty" protobuf:"varint,42,opt,name=x22" thrift:"42"`
+	X23  int64              `json:"x23,omitempty" protobuf:"varint,43,opt,name=x23" thrift:"43"`
 }
 
 type Peer133 struct {
@@ -1881,11 +5231,36 @@ type Peer133 struct {
 }
 
 type Rec134 struct {
-	V    int64    `json:"v" protobuf:"varint,1,opt,name=v" thrift:"1"`
-	Next *Rec134  `json:"next,omitempty" protobuf:"bytes,2,opt,name=next" thrift:"2"`
-	Kids []Rec134 `json:"kids,omitempty" protobuf:"bytes,3,rep,name=kids" thrift:"3"`
-	Peer *Peer134 `json:"peer,omitempty" protobuf:"bytes,4,opt,name=peer" thrift:"4"`
-	S    string   `json:"s,omitempty" protobuf:"bytes,5,opt,name=s" thrift:"5"`
+	M    map[string]Peer134 `json:"m,omitempty" protobuf:"bytes,6,rep,name=m" protobuf_key:"bytes,1,opt,name=key" protobuf_val:"bytes,2,opt,name=value" thrift:"6"`
+	V    int64              `json:"v" protobuf:"varint,1,opt,name=v" thrift:"1"`
+	Next *Rec134            `json:"next,omitempty" protobuf:"bytes,2,opt,name=next" thrift:"2"`
+	Kids []Rec134           `json:"kids,omitempty" protobuf:"bytes,3,rep,name=kids" thrift:"3"`
+	Peer *Peer134           `json:"peer,omitempty" protobuf:"bytes,4,opt,name=peer" thrift:"4"`
+	S    string             `json:"s,omitempty" protobuf:"bytes,5,opt,name=s" thrift:"5"`
+	X00  int64              `json:"x0,omitempty" protobuf:"varint,20,opt,name=x0" thrift:"20"`
+	X01  int64              `json:"x1,omitempty" protobuf:"varint,21,opt,name=x1" thrift:"21"`
+	X02  int64              `json:"x2,omitempty" protobuf:"varint,22,opt,name=x2" thrift:"22"`
+	X03  int64              `json:"x3,omitempty" protobuf:"varint,23,opt,name=x3" thrift:"23"`
+	X04  int64              `json:"x4,omitempty" protobuf:"varint,24,opt,name=x4" thrift:"24"`
+	X05  int64              `json:"x5,omitempty" protobuf:"varint,25,opt,name=x5" thrift:"25"`
+	X06  int64              `json:"x6,omitempty" protobuf:"varint,26,opt,name=x6" thrift:"26"`
+	X07  int64              `json:"x7,omitempty" protobuf:"varint,27,opt,name=x7" thrift:"27"`
+	X08  int64              `json:"x8,omitempty" protobuf:"varint,28,opt,name=x8" thrift:"28"`
+	X09  int64              `json:"x9,omitempty" protobuf:"varint,29,opt,name=x9" thrift:"29"`
+	X10  int64              `json:"x10,omitempty" protobuf:"varint,30,opt,name=x10" thrift:"30"`
+	X11  int64              `json:"x11,omitempty" protobuf:"varint,31,opt,name=x11" thrift:"31"`
+	X12  int64              `json:"x12,omitempty" protobuf:"varint,32,opt,name=x12" thrift:"32"`
+	X13  int64              `json:"x13,omitempty" protobuf:"varint,33,opt,name=x13" thrift:"33"`
+	X14  int64              `json:"x14,omitempty" protobuf:"varint,34,opt,name=x14" thrift:"34"`
+	X15  int64              `json:"x15,omitempty" protobuf:"varint,35,opt,name=x15" thrift:"35"`
+	X16  int64              `json:"x16,omitempty" protobuf:"varint,36,opt,name=x16" thrift:"36"`
+	X17  int64              `json:"x17,omitempty" protobuf:"varint,37,opt,name=x17" thrift:"37"`
+	X18  int64              `json:"x18,omitempty" protobuf:"varint,38,opt,name=x18" thrift:"38"`
+	X19  int64              `json:"x19,omitempty" protobuf:"varint,39,opt,name=x19" thrift:"39"`
+	X20  int64              `json:"x20,omitempty" protobuf:"varint,40,opt,name=x20" thrift:"40"`
+	X21  int64              `json:"x21,omitempty" protobuf:"varint,41,opt,name=x21" thrift:"41"`
+	X22  int64              `json:"x22,omitempty" protobuf:"varint,42,opt,name=x22" thrift:"42"`
+	X23  int64              `json:"x23,omitempty" protobuf:"varint,43,opt,name=x23" thrift:"43"`
 }
 
 type Peer134 struct {
@@ -1895,11 +5270,36 @@ type Peer134 struct {
 }
 
 type Rec135 struct {
-	V    int64    `json:"v" protobuf:"varint,1,opt,name=v" thrift:"1"`
-	Next *Rec135  `json:"next,omitempty" protobuf:"bytes,2,opt,name=next" thrift:"2"`
-	Kids []Rec135 `json:"kids,omitempty" protobuf:"bytes,3,rep,name=kids" thrift:"3"`
-	Peer *Peer135 `json:"peer,omitempty" protobuf:"bytes,4,opt,name=peer" thrift:"4"`
-	S    string   `json:"s,omitempty" protobuf:"bytes,5,opt,name=s" thrift:"5"`
+	M    map[string]Peer135 `json:"m,omitempty" protobuf:"bytes,6,rep,name=m" protobuf_key:"bytes,1,opt,name=key" protobuf_val:"bytes,2,opt,name=value" thrift:"6"`
+	V    int64              `json:"v" protobuf:"varint,1,opt,name=v" thrift:"1"`
+	Next *Rec135            `json:"next,omitempty" protobuf:"bytes,2,opt,name=next" thrift:"2"`
+	Kids []Rec135           `json:"kids,omitempty" protobuf:"bytes,3,rep,name=kids" thrift:"3"`
+	Peer *Peer135           `json:"peer,omitempty" protobuf:"bytes,4,opt,name=peer" thrift:"4"`
+	S    string             `json:"s,omitempty" protobuf:"bytes,5,opt,name=s" thrift:"5"`
+	X00  int64              `json:"x0,omitempty" protobuf:"varint,20,opt,name=x0" thrift:"20"`
+	X01  int64              `json:"x1,omitempty" protobuf:"varint,21,opt,name=x1" thrift:"21"`
+	X02  int64              `json:"x2,omitempty" protobuf:"varint,22,opt,name=x2" thrift:"22"`
+	X03  int64              `json:"x3,omitempty" protobuf:"varint,23,opt,name=x3" thrift:"23"`
+	X04  int64              `json:"x4,omitempty" protobuf:"varint,24,opt,name=x4" thrift:"24"`
+	X05  int64              `json:"x5,omitempty" protobuf:"varint,25,opt,name=x5" thrift:"25"`
+	X06  int64              `json:"x6,omitempty" protobuf:"varint,26,opt,name=x6" thrift:"26"`
+	X07  int64              `json:"x7,omitempty" protobuf:"varint,27,opt,name=x7" thrift:"27"`
+	X08  int64              `json:"x8,omitempty" protobuf:"varint,28,opt,name=x8" thrift:"28"`
+	X09  int64              `json:"x9,omitempty" protobuf:"varint,29,opt,name=x9" thrift:"29"`
+	X10  int64              `json:"x10,omitempty" protobuf:"varint,30,opt,name=x10" thrift:"30"`
+	X11  int64              `json:"x11,omitempty" protobuf:"varint,31,opt,name=x11" thrift:"31"`
+	X12  int64              `json:"x12,omitempty" protobuf:"varint,32,opt,name=x12" thrift:"32"`
+	X13  int64              `json:"x13,omitempty" protobuf:"varint,33,opt,name=x13" thrift:"33"`
+	X14  int64              `json:"x14,omitempty" protobuf:"varint,34,opt,name=x14" thrift:"34"`
+	X15  int64              `json:"x15,omitempty" protobuf:"varint,35,opt,name=x15" thrift:"35"`
+	X16  int64              `json:"x16,omitempty" protobuf:"varint,36,opt,name=x16" thrift:"36"`
+	X17  int64              `json:"x17,omitempty" protobuf:"varint,37,opt,name=x17" thrift:"37"`
+	X18  int64              `json:"x18,omitempty" protobuf:"varint,38,opt,name=x18" thrift:"38"`
+	X19  int64              `json:"x19,omitempty" protobuf:"varint,39,opt,name=x19" thrift:"39"`
+	X20  int64              `json:"x20,omitempty" protobuf:"varint,40,opt,name=x20" thrift:"40"`
+	X21  int64              `json:"x21,omitempty" protobuf:"varint,41,opt,name=x21" thrift:"41"`
+	X22  int64              `json:"x22,omitempty" protobuf:"varint,42,opt,name=x22" thrift:"42"`
+	X23  int64              `json:"x23,omitempty" protobuf:"varint,43,opt,name=x23" thrift:"43"`
 }
 
 type Peer135 struct {
@@ -1909,11 +5309,36 @@ type Peer135 struct {
 }
 
 type Rec136 struct {
-	V    int64    `json:"v" protobuf:"varint,1,opt,name=v" thrift:"1"`
-	Next *Rec136  `json:"next,omitempty" protobuf:"bytes,2,opt,name=next" thrift:"2"`
-	Kids []Rec136 `json:"kids,omitempty" protobuf:"bytes,3,rep,name=kids" thrift:"3"`
-	Peer *Peer136 `json:"peer,omitempty" protobuf:"bytes,4,opt,name=peer" thrift:"4"`
-	S    string   `json:"s,omitempty" protobuf:"bytes,5,opt,name=s" thrift:"5"`
+	M    map[string]Peer136 `json:"m,omitempty" protobuf:"bytes,6,rep,name=m" protobuf_key:"bytes,1,opt,name=key" protobuf_val:"bytes,2,opt,name=value" thrift:"6"`
+	V    int64              `json:"v" protobuf:"varint,1,opt,name=v" thrift:"1"`
+	Next *Rec136            `json:"next,omitempty" protobuf:"bytes,2,opt,name=next" thrift:"2"`
+	Kids []Rec136           `json:"kids,omitempty" protobuf:"bytes,3,rep,name=kids" thrift:"3"`
+	Peer *Peer136           `json:"peer,omitempty" protobuf:"bytes,4,opt,name=peer" thrift:"4"`
+	S    string             `json:"s,omitempty" protobuf:"bytes,5,opt,name=s" thrift:"5"`
+	X00  int64              `json:"x0,omitempty" protobuf:"varint,20,opt,name=x0" thrift:"20"`
+	X01  int64              `json:"x1,omitempty" protobuf:"varint,21,opt,name=x1" thrift:"21"`
+	X02  int64              `json:"x2,omitempty" protobuf:"varint,22,opt,name=x2" thrift:"22"`
+	X03  int64              `json:"x3,omitempty" protobuf:"varint,23,opt,name=x3" thrift:"23"`
+	X04  int64              `json:"x4,omitempty" protobuf:"varint,24,opt,name=x4" thrift:"24"`
+	X05  int64              `json:"x5,omitempty" protobuf:"varint,25,opt,name=x5" thrift:"25"`
+	X06  int64              `json:"x6,omitempty" protobuf:"varint,26,opt,name=x6" thrift:"26"`
+	X07  int64              `json:"x7,omitempty" protobuf:"varint,27,opt,name=x7" thrift:"27"`
+	X08  int64              `json:"x8,omitempty" protobuf:"varint,28,opt,name=x8" thrift:"28"`
+	X09  int64              `json:"x9,omitempty" protobuf:"varint,29,opt,name=x9" thrift:"29"`
+	X10  int64              `json:"x10,omitempty" protobuf:"varint,30,opt,name=x10" thrift:"30"`
+	X11  int64              `json:"x11,omitempty" protobuf:"varint,31,opt,name=x11" thrift:"31"`
+	X12  int64              `json:"x12,omitempty" protobuf:"varint,32,opt,name=x12" thrift:"32"`
+	X13  int64              `json:"x13,omitempty" protobuf:"varint,33,opt,name=x13" thrift:"33"`
+	X14  int64              `json:"x14,omitempty" protobuf:"varint,34,opt,name=x14" thrift:"34"`
+	X15  int64              `json:"x15,omitempty" protobuf:"varint,35,opt,name=x15" thrift:"35"`
+	X16  int64              `json:"x16,omitempty" protobuf:"varint,36,opt,name=x16" thrift:"36"`
+	X17  int64              `json:"x17,omitempty" protobuf:"varint,37,opt,name=x17" thrift:"37"`
+	X18  int64              `json:"x18,omitempty" protobuf:"varint,38,opt,name=x18" thrift:"38"`
+	X19  int64              `json:"x19,omitempty" protobuf:"varint,39,opt,name=x19" thrift:"39"`
+	X20  int64              `json:"x20,omitempty" protobuf:"varint,40,opt,name=x20" thrift:"40"`
+	X21  int64              `json:"x21,omitempty" protobuf:"varint,41,opt,name=x21" thrift:"41"`
+	X22  int64              `json:"x22,omitempty" protobuf:"varint,42,opt,name=x22" thrift:"42"`
+	X23  int64              `json:"x23,omitempty" protobuf:"varint,43,opt,name=x23" thrift:"43"`
 }
 
 type Peer136 struct {
@@ -1923,11 +5348,36 @@ type Peer136 struct {
 }
 
 type Rec137 struct {
-	V    int64    `json:"v" protobuf:"varint,1,opt,name=v" thrift:"1"`
-	Next *Rec137  `json:"next,omitempty" protobuf:"bytes,2,opt,name=next" thrift:"2"`
-	Kids []Rec137 `json:"kids,omitempty" protobuf:"bytes,3,rep,name=kids" thrift:"3"`
-	Peer *Peer137 `json:"peer,omitempty" protobuf:"bytes,4,opt,name=peer" thrift:"4"`
-	S    string   `json:"s,omitempty" protobuf:"bytes,5,opt,name=s" thrift:"5"`
+	M    map[string]Peer137 `json:"m,omitempty" protobuf:"bytes,6,rep,name=m" protobuf_key:"bytes,1,opt,name=key" protobuf_val:"bytes,2,opt,name=value" thrift:"6"`
+	V    int64              `json:"v" protobuf:"varint,1,opt,name=v" thrift:"1"`
+	Next *Rec137            `json:"next,omitempty" protobuf:"bytes,2,opt,name=next" thrift:"2"`
+	Kids []Rec137           `json:"kids,omitempty" protobuf:"bytes,3,rep,name=kids" thrift:"3"`
+	Peer *Peer137           `json:"peer,omitempty" protobuf:"bytes,4,opt,name=peer" thrift:"4"`
+	S    string             `json:"s,omitempty" protobuf:"bytes,5,opt,name=s" thrift:"5"`
+	X00  int64              `json:"x0,omitempty" protobuf:"varint,20,opt,name=x0" thrift:"20"`
+	X01  int64              `json:"x1,omitempty" protobuf:"varint,21,opt,name=x1" thrift:"21"`
+	X02  int64              `json:"x2,omitempty" protobuf:"varint,22,opt,name=x2" thrift:"22"`
+	X03  int64              `json:"x3,omitempty" protobuf:"varint,23,opt,name=x3" thrift:"23"`
+	X04  int64              `json:"x4,omitempty" protobuf:"varint,24,opt,name=x4" thrift:"24"`
+	X05  int64              `json:"x5,omitempty" protobuf:"varint,25,opt,name=x5" thrift:"25"`
+	X06  int64              `json:"x6,omitempty" protobuf:"varint,26,opt,name=x6" thrift:"26"`
+	X07  int64              `json:"x7,omitempty" protobuf:"varint,27,opt,name=x7" thrift:"27"`
+	X08  int64              `json:"x8,omitempty" protobuf:"varint,28,opt,name=x8" thrift:"28"`
+	X09  int64              `json:"x9,omitempty" protobuf:"varint,29,opt,name=x9" thrift:"29"`
+	X10  int64              `json:"x10,omitempty" protobuf:"varint,30,opt,name=x10" thrift:"30"`
+	X11  int64              `json:"x11,omitempty" protobuf:"varint,31,opt,name=x11" thrift:"31"`
+	X12  int64              `json:"x12,omitempty" protobuf:"varint,32,opt,name=x12" thrift:"32"`
+	X13  int64              `json:"x13,omitempty" protobuf:"varint,33,opt,name=x13" thrift:"33"`
+	X14  int64              `json:"x14,omitempty" protobuf:"varint,34,opt,name=x14" thrift:"34"`
+	X15  int64              `json:"x15,omitempty" protobuf:"varint,35,opt,name=x15" thrift:"35"`
+	X16  int64              `json:"x16,omitempty" protobuf:"varint,36,opt,name=x16" thrift:"36"`
+	X17  int64              `json:"x17,omitempty" protobuf:"varint,37,opt,name=x17" thrift:"37"`
+	X18  int64              `json:"x18,omitempty" protobuf:"varint,38,opt,name=x18" thrift:"38"`
+	X19  int64              `json:"x19,omitempty" protobuf:"varint,39,opt,name=x19" thrift:"39"`
+	X20  int64              `json:"x20,omitempty" protobuf:"varint,40,opt,name=x20" thrift:"40"`
+	X21  int64              `json:"x21,omitempty" protobuf:"varint,41,opt,name=x21" thrift:"41"`
+	X22  int64              `json:"x22,omitempty" protobuf:"varint,42,opt,name=x22" thrift:"42"`
+	X23  int64              `json:"x23,omitempty" protobuf:"varint,43,opt,name=x23" thrift:"43"`
 }
 
 type Peer137 struct {
@@ -1937,11 +5387,36 @@ type Peer137 struct {
 }
 
 type Rec138 struct {
-	V    int64    `json:"v" protobuf:"varint,1,opt,name=v" thrift:"1"`
-	Next *Rec138  `json:"next,omitempty" protobuf:"bytes,2,opt,name=next" thrift:"2"`
-	Kids []Rec138 `json:"kids,omitempty" protobuf:"bytes,3,rep,name=kids" thrift:"3"`
-	Peer *Peer138 `json:"peer,omitempty" protobuf:"bytes,4,opt,name=peer" thrift:"4"`
-	S    string   `json:"s,omitempty" protobuf:"bytes,5,opt,name=s" thrift:"5"`
+	M    map[string]Peer138 `json:"m,omitempty" protobuf:"bytes,6,rep,name=m" protobuf_key:"bytes,1,opt,name=key" protobuf_val:"bytes,2,opt,name=value" thrift:"6"`
+	V    int64              `json:"v" protobuf:"varint,1,opt,name=v" thrift:"1"`
+	Next *Rec138            `json:"next,omitempty" protobuf:"bytes,2,opt,name=next" thrift:"2"`
+	Kids []Rec138           `json:"kids,omitempty" protobuf:"bytes,3,rep,name=kids" thrift:"3"`
+	Peer *Peer138           `json:"peer,omitempty" protobuf:"bytes,4,opt,name=peer" thrift:"4"`
+	S    string             `json:"s,omitempty" protobuf:"bytes,5,opt,name=s" thrift:"5"`
+	X00  int64              `json:"x0,omitempty" protobuf:"varint,20,opt,name=x0" thrift:"20"`
+	X01  int64              `json:"x1,omitempty" protobuf:"varint,21,opt,name=x1" thrift:"21"`
+	X02  int64              `json:"x2,omitempty" protobuf:"varint,22,opt,name=x2" thrift:"22"`
+	X03  int64              `json:"x3,omitempty" protobuf:"varint,23,opt,name=x3" thrift:"23"`
+	X04  int64              `json:"x4,omitempty" protobuf:"varint,24,opt,name=x4" thrift:"24"`
+	X05  int64              `json:"x5,omitempty" protobuf:"varint,25,opt,name=x5" thrift:"25"`
+	X06  int64              `json:"x6,omitempty" protobuf:"varint,26,opt,name=x6" thrift:"26"`
+	X07  int64              `json:"x7,omitempty" protobuf:"varint,27,opt,name=x7" thrift:"27"`
+	X08  int64              `json:"x8,omitempty" protobuf:"varint,28,opt,name=x8" thrift:"28"`
+	X09  int64              `json:"x9,omitempty" protobuf:"varint,29,opt,name=x9" thrift:"29"`
+	X10  int64              `json:"x10,omitempty" protobuf:"varint,30,opt,name=x10" thrift:"30"`
+	X11  int64              `json:"x11,omitempty" protobuf:"varint,31,opt,name=x11" thrift:"31"`
+	X12  int64              `json:"x12,omitempty" protobuf:"varint,32,opt,name=x12" thrift:"32"`
+	X13  int64              `json:"x13,omitempty" protobuf:"varint,33,opt,name=x13" thrift:"33"`
+	X14  int64              `json:"x14,omitempty" protobuf:"varint,34,opt,name=x14" thrift:"34"`
+	X15  int64              `json:"x15,omitempty" protobuf:"varint,35,opt,name=x15" thrift:"35"`
+	X16  int64              `json:"x16,omitempty" protobuf:"varint,36,opt,name=x16" thrift:"36"`
+	X17  int64              `json:"x17,omitempty" protobuf:"varint,37,opt,name=x17" thrift:"37"`
+	X18  int64              `json:"x18,omitempty" protobuf:"varint,38,opt,name=x18" thrift:"38"`
+	X19  int64              `json:"x19,omitempty" protobuf:"varint,39,opt,name=x19" thrift:"39"`
+	X20  int64              `json:"x20,omitempty" protobuf:"varint,40,opt,name=x20" thrift:"40"`
+	X21  int64              `json:"x21,omitempty" protobuf:"varint,41,opt,name=x21" thrift:"41"`
+	X22  int64              `json:"x22,omitempty" protobuf:"varint,42,opt,name=x22" thrift:"42"`
+	X23  int64              `json:"x23,omitempty" protobuf:"varint,43,opt,name=x23" thrift:"43"`
 }
 
 type Peer138 struct {
@@ -1951,11 +5426,36 @@ type Peer138 struct {
 }
 
 type Rec139 struct {
-	V    int64    `json:"v" protobuf:"varint,1,opt,name=v" thrift:"1"`
-	Next *Rec139  `json:"next,omitempty" protobuf:"bytes,2,opt,name=next" thrift:"2"`
-	Kids []Rec139 `json:"kids,omitempty" protobuf:"bytes,3,rep,name=kids" thrift:"3"`
-	Peer *Peer139 `json:"peer,omitempty" protobuf:"bytes,4,opt,name=peer" thrift:"4"`
-	S    string   `json:"s,omitempty" protobuf:"bytes,5,opt,name=s" thrift:"5"`
+	M    map[string]Peer139 `json:"m,omitempty" protobuf:"bytes,6,rep,name=m" protobuf_key:"bytes,1,opt,name=key" protobuf_val:"bytes,2,opt,name=value" thrift:"6"`
+	V    int64              `json:"v" protobuf:"varint,1,opt,name=v" thrift:"1"`
+	Next *Rec139            `json:"next,omitempty" protobuf:"bytes,2,opt,name=next" thrift:"2"`
+	Kids []Rec139           `json:"kids,omitempty" protobuf:"bytes,3,rep,name=kids" thrift:"3"`
+	Peer *Peer139           `json:"peer,omitempty" protobuf:"bytes,4,opt,name=peer" thrift:"4"`
+	S    string             `json:"s,omitempty" protobuf:"bytes,5,opt,name=s" thrift:"5"`
+	X00  int64              `json:"x0,omitempty" protobuf:"varint,20,opt,name=x0" thrift:"20"`
+	X01  int64              `json:"x1,omitempty" protobuf:"varint,21,opt,name=x1" thrift:"21"`
+	X02  int64              `json:"x2,omitempty" protobuf:"varint,22,opt,name=x2" thrift:"22"`
+	X03  int64              `json:"x3,omitempty" protobuf:"varint,23,opt,name=x3" thrift:"23"`
+	X04  int64              `json:"x4,omitempty" protobuf:"varint,24,opt,name=x4" thrift:"24"`
+	X05  int64              `json:"x5,omitempty" protobuf:"varint,25,opt,name=x5" thrift:"25"`
+	X06  int64              `json:"x6,omitempty" protobuf:"varint,26,opt,name=x6" thrift:"26"`
+	X07  int64              `json:"x7,omitempty" protobuf:"varint,27,opt,name=x7" thrift:"27"`
+	X08  int64              `json:"x8,omitempty" protobuf:"varint,28,opt,name=x8" thrift:"28"`
+	X09  int64              `json:"x9,omitempty" protobuf:"varint,29,opt,name=x9" thrift:"29"`
+	X10  int64              `json:"x10,omitempty" protobuf:"varint,30,opt,name=x10" thrift:"30"`
+	X11  int64              `json:"x11,omitempty" protobuf:"varint,31,opt,name=x11" thrift:"31"`
+	X12  int64              `json:"x12,omitempty" protobuf:"varint,32,opt,name=x12" thrift:"32"`
+	X13  int64              `json:"x13,omitempty" protobuf:"varint,33,opt,name=x13" thrift:"33"`
+	X14  int64              `json:"x14,omitempty" protobuf:"varint,34,opt,name=x14" thrift:"34"`
+	X15  int64              `json:"x15,omitempty" protobuf:"varint,35,opt,name=x15" thrift:"35"`
+	X16  int64              `json:"x16,omitempty" protobuf:"varint,36,opt,name=x16" thrift:"36"`
+	X17  int64              `json:"x17,omitempty" protobuf:"varint,37,opt,name=x17" thrift:"37"`
+	X18  int64              `json:"x18,omitempty" protobuf:"varint,38,opt,name=x18" thrift:"38"`
+	X19  int64              `json:"x19,omitempty" protobuf:"varint,39,opt,name=x19" thrift:"39"`
+	X20  int64              `json:"x20,omitempty" protobuf:"varint,40,opt,name=x20" thrift:"40"`
+	X21  int64              `json:"x21,omitempty" protobuf:"varint,41,opt,name=x21" thrift:"41"`
+	X22  int64              `json:"x22,omitempty" protobuf:"varint,42,opt,name=x22" thrift:"42"`
+	X23  int64              `json:"x23,omitempty" protobuf:"varint,43,opt,name=x23" thrift:"43"`
 }
 
 type Peer139 struct {
@@ -1965,11 +5465,36 @@ type Peer139 struct {
 }
 
 type Rec140 struct {
-	V    int64    `json:"v" protobuf:"varint,1,opt,name=v" thrift:"1"`
-	Next *Rec140  `json:"next,omitempty" protobuf:"bytes,2,opt,name=next" thrift:"2"`
-	Kids []Rec140 `json:"kids,omitempty" protobuf:"bytes,3,rep,name=kids" thrift:"3"`
-	Peer *Peer140 `json:"peer,omitempty" protobuf:"bytes,4,opt,name=peer" thrift:"4"`
-	S    string   `json:"s,omitempty" protobuf:"bytes,5,opt,name=s" thrift:"5"`
+	M    map[string]Peer140 `json:"m,omitempty" protobuf:"bytes,6,rep,name=m" protobuf_key:"bytes,1,opt,name=key" protobuf_val:"bytes,2,opt,name=value" thrift:"6"`
+	V    int64              `json:"v" protobuf:"varint,1,opt,name=v" thrift:"1"`
+	Next *Rec140            `json:"next,omitempty" protobuf:"bytes,2,opt,name=next" thrift:"2"`
+	Kids []Rec140           `json:"kids,omitempty" protobuf:"bytes,3,rep,name=kids" thrift:"3"`
+	Peer *Peer140           `json:"peer,omitempty" protobuf:"bytes,4,opt,name=peer" thrift:"4"`
+	S    string             `json:"s,omitempty" protobuf:"bytes,5,opt,name=s" thrift:"5"`
+	X00  int64              `json:"x0,omitempty" protobuf:"varint,20,opt,name=x0" thrift:"20"`
+	X01  int64              `json:"x1,omitempty" protobuf:"varint,21,opt,name=x1" thrift:"21"`
+	X02  int64              `json:"x2,omitempty" protobuf:"varint,22,opt,name=x2" thrift:"22"`
+	X03  int64              `json:"x3,omitempty" protobuf:"varint,23,opt,name=x3" thrift:"23"`
+	X04  int64              `json:"x4,omitempty" protobuf:"varint,24,opt,name=x4" thrift:"24"`
+	X05  int64              `json:"x5,omitempty" protobuf:"varint,25,opt,name=x5" thrift:"25"`
+	X06  int64              `json:"x6,omitempty" protobuf:"varint,26,opt,name=x6" thrift:"26"`
+	X07  int64              `json:"x7,omitempty" protobuf:"varint,27,opt,name=x7" thrift:"27"`
+	X08  int64              `json:"x8,omitempty" protobuf:"varint,28,opt,name=x8" thrift:"28"`
+	X09  int64              `json:"x9,omitempty" protobuf:"varint,29,opt,name=x9" thrift:"29"`
+	X10  int64              `json:"x10,omitempty" protobuf:"varint,30,opt,name=x10" thrift:"30"`
+	X11  int64              `json:"x11,omitempty" protobuf:"varint,31,opt,name=x11" thrift:"31"`
+	X12  int64              `json:"x12,omitempty" protobuf:"varint,32,opt,name=x12" thrift:"32"`
+	X13  int64              `json:"x13,omitempty" protobuf:"varint,33,opt,name=x13" thrift:"33"`
+	X14  int64              `json:"x14,omitempty" protobuf:"varint,34,opt,name=x14" thrift:"34"`
+	X15  int64              `json:"x15,omitempty" protobuf:"varint,35,opt,name=x15" thrift:"35"`
+	X16  int64              `json:"x16,omitempty" protobuf:"varint,36,opt,name=x16" thrift:"36"`
+	X17  int64              `json:"x17,omitempty" protobuf:"varint,37,opt,name=x17" thrift:"37"`
+	X18  int64              `json:"x18,omitempty" protobuf:"varint,38,opt,name=x18" thrift:"38"`
+	X19  int64              `json:"x19,omitempty" protobuf:"varint,39,opt,name=x19" thrift:"39"`
+	X20  int64              `json:"x20,omitempty" protobuf:"varint,40,opt,name=x20" thrift:"40"`
+	X21  int64              `json:"x21,omitempty" protobuf:"varint,41,opt,name=x21" thrift:"41"`
+	X22  int64              `json:"x22,omitempty" protobuf:"varint,42,opt,name=x22" thrift:"42"`
+	X23  int64              `json:"x23,omitempty" protobuf:"varint,43,opt,name=x23" thrift:"43"`
 }
 
 type Peer140 struct {
@@ -1979,11 +5504,36 @@ type Peer140 struct {
 }
 
 type Rec141 struct {
-	V    int64    `json:"v" protobuf:"varint,1,opt,name=v" thrift:"1"`
-	Next *Rec141  `json:"next,omitempty" protobuf:"bytes,2,opt,name=next" thrift:"2"`
-	Kids []Rec141 `json:"kids,omitempty" protobuf:"bytes,3,rep,name=kids" thrift:"3"`
-	Peer *Peer141 `json:"peer,omitempty" protobuf:"bytes,4,opt,name=peer" thrift:"4"`
-	S    string   `json:"s,omitempty" protobuf:"bytes,5,opt,name=s" thrift:"5"`
+	M    map[string]Peer141 `json:"m,omitempty" protobuf:"bytes,6,rep,name=m" protobuf_key:"bytes,1,opt,name=key" protobuf_val:"bytes,2,opt,name=value" thrift:"6"`
+	V    int64              `json:"v" protobuf:"varint,1,opt,name=v" thrift:"1"`
+	Next *Rec141            `json:"next,omitempty" protobuf:"bytes,2,opt,name=next" thrift:"2"`
+	Kids []Rec141           `json:"kids,omitempty" protobuf:"bytes,3,rep,name=kids" thrift:"3"`
+	Peer *Peer141           `json:"peer,omitempty" protobuf:"bytes,4,opt,name=peer" thrift:"4"`
+	S    string             `json:"s,omitempty" protobuf:"bytes,5,opt,name=s" thrift:"5"`
+	X00  int64              `json:"x0,omitempty" protobuf:"varint,20,opt,name=x0" thrift:"20"`
+	X01  int64              `json:"x1,omitempty" protobuf:"varint,21,opt,name=x1" thrift:"21"`
+	X02  int64              `json:"x2,omitempty" protobuf:"varint,22,opt,name=x2" thrift:"22"`
+	X03  int64              `json:"x3,omitempty" protobuf:"varint,23,opt,name=x3" thrift:"23"`
+	X04  int64              `json:"x4,omitempty" protobuf:"varint,24,opt,name=x4" thrift:"24"`
+	X05  int64              `json:"x5,omitempty" protobuf:"varint,25,opt,name=x5" thrift:"25"`
+	X06  int64              `json:"x6,omitempty" protobuf:"varint,26,opt,name=x6" thrift:"26"`
+	X07  int64              `json:"x7,omitempty" protobuf:"varint,27,opt,name=x7" thrift:"27"`
+	X08  int64              `json:"x8,omitempty" protobuf:"varint,28,opt,name=x8" thrift:"28"`
+	X09  int64              `json:"x9,omitempty" protobuf:"varint,29,opt,name=x9" thrift:"29"`
+	X10  int64              `json:"x10,omitempty" protobuf:"varint,30,opt,name=x10" thrift:"30"`
+	X11  int64              `json:"x11,omitempty" protobuf:"varint,31,opt,name=x11" thrift:"31"`
+	X12  int64              `json:"x12,omitempty" protobuf:"varint,32,opt,name=x12" thrift:"32"`
+	X13  int64              `json:"x13,omitempty" protobuf:"varint,33,opt,name=x13" thrift:"33"`
+	X14  int64              `json:"x14,omitempty" protobuf:"varint,34,opt,name=x14" thrift:"34"`
+	X15  int64              `json:"x15,omitempty" protobuf:"varint,35,opt,name=x15" thrift:"35"`
+	X16  int64              `json:"x16,omitempty" protobuf:"varint,36,opt,name=x16" thrift:"36"`
+	X17  int64              `json:"x17,omitempty" protobuf:"varint,37,opt,name=x17" thrift:"37"`
+	X18  int64              `json:"x18,omitempty" protobuf:"varint,38,opt,name=x18" thrift:"38"`
+	X19  int64              `json:"x19,omitempty" protobuf:"varint,39,opt,name=x19" thrift:"39"`
+	X20  int64              `json:"x20,omitempty" protobuf:"varint,40,opt,name=x20" thrift:"40"`
+	X21  int64              `json:"x21,omitempty" protobuf:"varint,41,opt,name=x21" thrift:"41"`
+	X22  int64              `json:"x22,omitempty" protobuf:"varint,42,opt,name=x22" thrift:"42"`
+	X23  int64              `json:"x23,omitempty" protobuf:"varint,43,opt,name=x23" thrift:"43"`
 }
 
 type Peer141 struct {
@@ -1993,11 +5543,36 @@ type Peer141 struct {
 }
 
 type Rec142 struct {
-	V    int64    `json:"v" protobuf:"varint,1,opt,name=v" thrift:"1"`
-	Next *Rec142  `json:"next,omitempty" protobuf:"bytes,2,opt,name=next" thrift:"2"`
-	Kids []Rec142 `json:"kids,omitempty" protobuf:"bytes,3,rep,name=kids" thrift:"3"`
-	Peer *Peer142 `json:"peer,omitempty" protobuf:"bytes,4,opt,name=peer" thrift:"4"`
-	S    string   `json:"s,omitempty" protobuf:"bytes,5,opt,name=s" thrift:"5"`
+	M    map[string]Peer142 `json:"m,omitempty" protobuf:"bytes,6,rep,name=m" protobuf_key:"bytes,1,opt,name=key" protobuf_val:"bytes,2,opt,name=value" thrift:"6"`
+	V    int64              `json:"v" protobuf:"varint,1,opt,name=v" thrift:"1"`
+	Next *Rec142            `json:"next,omitempty" protobuf:"bytes,2,opt,name=next" thrift:"2"`
+	Kids []Rec142           `json:"kids,omitempty" protobuf:"bytes,3,rep,name=kids" thrift:"3"`
+	Peer *Peer142           `json:"peer,omitempty" protobuf:"bytes,4,opt,name=peer" thrift:"4"`
+	S    string             `json:"s,omitempty" protobuf:"bytes,5,opt,name=s" thrift:"5"`
+	X00  int64              `json:"x0,omitempty" protobuf:"varint,20,opt,name=x0" thrift:"20"`
+	X01  int64              `json:"x1,omitempty" protobuf:"varint,21,opt,name=x1" thrift:"21"`
+	X02  int64              `json:"x2,omitempty" protobuf:"varint,22,opt,name=x2" thrift:"22"`
+	X03  int64              `json:"x3,omitempty" protobuf:"varint,23,opt,name=x3" thrift:"23"`
+	X04  int64              `json:"x4,omitempty" protobuf:"varint,24,opt,name=x4" thrift:"24"`
+	X05  int64              `json:"x5,omitempty" protobuf:"varint,25,opt,name=x5" thrift:"25"`
+	X06  int64              `json:"x6,omitempty" protobuf:"varint,26,opt,name=x6" thrift:"26"`
+	X07  int64              `json:"x7,omitempty" protobuf:"varint,27,opt,name=x7" thrift:"27"`
+	X08  int64              `json:"x8,omitempty" protobuf:"varint,28,opt,name=x8" thrift:"28"`
+	X09  int64              `json:"x9,omitempty" protobuf:"varint,29,opt,name=x9" thrift:"29"`
+	X10  int64              `json:"x10,omitempty" protobuf:"varint,30,opt,name=x10" thrift:"30"`
+	X11  int64              `json:"x11,omitempty" protobuf:"varint,31,opt,name=x11" thrift:"31"`
+	X12  int64              `json:"x12,omitempty" protobuf:"varint,32,opt,name=x12" thrift:"32"`
+	X13  int64              `json:"x13,omitempty" protobuf:"varint,33,opt,name=x13" thrift:"33"`
+	X14  int64              `json:"x14,omitempty" protobuf:"varint,34,opt,name=x14" thrift:"34"`
+	X15  int64              `json:"x15,omitempty" protobuf:"varint,35,opt,name=x15" thrift:"35"`
+	X16  int64              `json:"x16,omitempty" protobuf:"varint,36,opt,name=x16" thrift:"36"`
+	X17  int64              `json:"x17,omitempty" protobuf:"varint,37,opt,name=x17" thrift:"37"`
+	X18  int64              `json:"x18,omitempty" protobuf:"varint,38,opt,name=x18" thrift:"38"`
+	X19  int64              `json:"x19,omitempty" protobuf:"varint,39,opt,name=x19" thrift:"39"`
+	X20  int64              `json:"x20,omitempty" protobuf:"varint,40,opt,name=x20" thrift:"40"`
+	X21  int64              `json:"x21,omitempty" protobuf:"varint,41,opt,name=x21" thrift:"41"`
+	X22  int64              `json:"x22,omitempty" protobuf:"varint,42,opt,name=x22" thrift:"42"`
+	X23  int64              `json:"x23,omitempty" protobuf:"varint,43,opt,name=x23" thrift:"43"`
 }
 
 type Peer142 struct {
@@ -2007,11 +5582,36 @@ type Peer142 struct {
 }
 
 type Rec143 struct {
-	V    int64    `json:"v" protobuf:"varint,1,opt,name=v" thrift:"1"`
-	Next *Rec143  `json:"next,omitempty" protobuf:"bytes,2,opt,name=next" thrift:"2"`
-	Kids []Rec143 `json:"kids,omitempty" protobuf:"bytes,3,rep,name=kids" thrift:"3"`
-	Peer *Peer143 `json:"peer,omitempty" protobuf:"bytes,4,opt,name=peer" thrift:"4"`
-	S    string   `json:"s,omitempty" protobuf:"bytes,5,opt,name=s" thrift:"5"`
+	M    map[string]Peer143 `json:"m,omitempty" protobuf:"bytes,6,rep,name=m" protobuf_key:"bytes,1,opt,name=key" protobuf_val:"bytes,2,opt,name=value" thrift:"6"`
+	V    int64              `json:"v" protobuf:"varint,1,opt,name=v" thrift:"1"`
+	Next *Rec143            `json:"next,omitempty" protobuf:"bytes,2,opt,name=next" thrift:"2"`
+	Kids []Rec143           `json:"kids,omitempty" protobuf:"bytes,3,rep,name=kids" thrift:"3"`
+	Peer *Peer143           `json:"peer,omitempty" protobuf:"bytes,4,opt,name=peer" thrift:"4"`
+	S    string             `json:"s,omitempty" protobuf:"bytes,5,opt,name=s" thrift:"5"`
+	X00  int64              `json:"x0,omitempty" protobuf:"varint,20,opt,name=x0" thrift:"20"`
+	X01  int64              `json:"x1,omitempty" protobuf:"varint,21,opt,name=x1" thrift:"21"`
+	X02  int64              `json:"x2,omitempty" protobuf:"varint,22,opt,name=x2" thrift:"22"`
+	X03  int64              `json:"x3,omitempty" protobuf:"varint,23,opt,name=x3" thrift:"23"`
+	X04  int64              `json:"x4,omitempty" protobuf:"varint,24,opt,name=x4" thrift:"24"`
+	X05  int64              `json:"x5,omitempty" protobuf:"varint,25,opt,name=x5" thrift:"25"`
+	X06  int64              `json:"x6,omitempty" protobuf:"varint,26,opt,name=x6" thrift:"26"`
+	X07  int64              `json:"x7,omitempty" protobuf:"varint,27,opt,name=x7" thrift:"27"`
+	X08  int64              `json:"x8,omitempty" protobuf:"varint,28,opt,name=x8" thrift:"28"`
+	X09  int64              `json:"x9,omitempty" protobuf:"varint,29,opt,name=x9" thrift:"29"`
+	X10  int64              `json:"x10,omitempty" protobuf:"varint,30,opt,name=x10" thrift:"30"`
+	X11  int64              `json:"x11,omitempty" protobuf:"varint,31,opt,name=x11" thrift:"31"`
+	X12  int64              `json:"x12,omitempty" protobuf:"varint,32,opt,name=x12" thrift:"32"`
+	X13  int64              `json:"x13,omitempty" protobuf:"varint,33,opt,name=x13" thrift:"33"`
+	X14  int64              `json:"x14,omitempty" protobuf:"varint,34,opt,name=x14" thrift:"34"`
+	X15  int64              `json:"x15,omitempty" protobuf:"varint,35,opt,name=x15" thrift:"35"`
+	X16  int64              `json:"x16,omitempty" protobuf:"varint,36,opt,name=x16" thrift:"36"`
+	X17  int64              `json:"x17,omitempty" protobuf:"varint,37,opt,name=x17" thrift:"37"`
+	X18  int64              `json:"x18,omitempty" protobuf:"varint,38,opt,name=x18" thrift:"38"`
+	X19  int64              `json:"x19,omitempty" protobuf:"varint,39,opt,name=x19" thrift:"39"`
+	X20  int64              `json:"x20,omitempty" protobuf:"varint,40,opt,name=x20" thrift:"40"`
+	X21  int64              `json:"x21,omitempty" protobuf:"varint,41,opt,name=x21" thrift:"41"`
+	X22  int64              `json:"x22,omitempty" protobuf:"varint,42,opt,name=x22" thrift:"42"`
+	X23  int64              `json:"x23,omitempty" protobuf:"varint,43,opt,name=x23" thrift:"43"`
 }
 
 type Peer143 struct {
@@ -2021,11 +5621,36 @@ type Peer143 struct {
 }
 
 type Rec144 struct {
-	V    int64    `json:"v" protobuf:"varint,1,opt,name=v" thrift:"1"`
-	Next *Rec144  `json:"next,omitempty" protobuf:"bytes,2,opt,name=next" thrift:"2"`
-	Kids []Rec144 `json:"kids,omitempty" protobuf:"bytes,3,rep,name=kids" thrift:"3"`
-	Peer *Peer144 `json:"peer,omitempty" protobuf:"bytes,4,opt,name=peer" thrift:"4"`
-	S    string   `json:"s,omitempty" protobuf:"bytes,5,opt,name=s" thrift:"5"`
+	M    map[string]Peer144 `json:"m,omitempty" protobuf:"bytes,6,rep,name=m" protobuf_key:"bytes,1,opt,name=key" protobuf_val:"bytes,2,opt,name=value" thrift:"6"`
+	V    int64              `json:"v" protobuf:"varint,1,opt,name=v" thrift:"1"`
+	Next *Rec144            `json:"next,omitempty" protobuf:"bytes,2,opt,name=next" thrift:"2"`
+	Kids []Rec144           `json:"kids,omitempty" protobuf:"bytes,3,rep,name=kids" thrift:"3"`
+	Peer *Peer144           `json:"peer,omitempty" protobuf:"bytes,4,opt,name=peer" thrift:"4"`
+	S    string             `json:"s,omitempty" protobuf:"bytes,5,opt,name=s" thrift:"5"`
+	X00  int64              `json:"x0,omitempty" protobuf:"varint,20,opt,name=x0" thrift:"20"`
+	X01  int64              `json:"x1,omitempty" protobuf:"varint,21,opt,name=x1" thrift:"21"`
+	X02  int64              `json:"x2,omitempty" protobuf:"varint,22,opt,name=x2" thrift:"22"`
+	X03  int64              `json:"x3,omitempty" protobuf:"varint,23,opt,name=x3" thrift:"23"`
+	X04  int64              `json:"x4,omitempty" protobuf:"varint,24,opt,name=x4" thrift:"24"`
+	X05  int64              `json:"x5,omitempty" protobuf:"varint,25,opt,name=x5" thrift:"25"`
+	X06  int64              `json:"x6,omitempty" protobuf:"varint,26,opt,name=x6" thrift:"26"`
+	X07  int64              `json:"x7,omitempty" protobuf:"varint,27,opt,name=x7" thrift:"27"`
+	X08  int64              `json:"x8,omitempty" protobuf:"varint,28,opt,name=x8" thrift:"28"`
+	X09  int64              `json:"x9,omitempty" protobuf:"varint,29,opt,name=x9" thrift:"29"`
+	X10  int64              `json:"x10,omitempty" protobuf:"varint,30,opt,name=x10" thrift:"30"`
+	X11  int64              `json:"x11,omitempty" protobuf:"varint,31,opt,name=x11" thrift:"31"`
+	X12  int64              `json:"x12,omitempty" protobuf:"varint,32,opt,name=x12" thrift:"32"`
+	X13  int64              `json:"x13,omitempty" protobuf:"varint,33,opt,name=x13" thrift:"33"`
+	X14  int64              `json:"x14,omitempty" protobuf:"varint,34,opt,name=x14" thrift:"34"`
+	X15  int64              `json:"x15,omitempty" protobuf:"varint,35,opt,name=x15" thrift:"35"`
+	X16  int64              `json:"x16,omitempty" protobuf:"varint,36,opt,name=x16" thrift:"36"`
+	X17  int64              `json:"x17,omitempty" protobuf:"varint,37,opt,name=x17" thrift:"37"`
+	X18  int64              `json:"x18,omitempty" protobuf:"varint,38,opt,name=x18" thrift:"38"`
+	X19  int64              `json:"x19,omitempty" protobuf:"varint,39,opt,name=x19" thrift:"39"`
+	X20  int64              `json:"x20,omitempty" protobuf:"varint,40,opt,name=x20" thrift:"40"`
+	X21  int64              `json:"x21,omitempty" protobuf:"varint,41,opt,name=x21" thrift:"41"`
+	X22  int64              `json:"x22,omitempty" protobuf:"varint,42,opt,name=x22" thrift:"42"`
+	X23  int64              `json:"x23,omitempty" protobuf:"varint,43,opt,name=x23" thrift:"43"`
 }
 
 type Peer144 struct {
@@ -2035,11 +5660,36 @@ type Peer144 struct {
 }
 
 type Rec145 struct {
-	V    int64    `json:"v" protobuf:"varint,1,opt,name=v" thrift:"1"`
-	Next *Rec145  `json:"next,omitempty" protobuf:"bytes,2,opt,name=next" thrift:"2"`
-	Kids []Rec145 `json:"kids,omitempty" protobuf:"bytes,3,rep,name=kids" thrift:"3"`
-	Peer *Peer145 `json:"peer,omitempty" protobuf:"bytes,4,opt,name=peer" thrift:"4"`
-	S    string   `json:"s,omitempty" protobuf:"bytes,5,opt,name=s" thrift:"5"`
+	M    map[string]Peer145 `json:"m,omitempty" protobuf:"bytes,6,rep,name=m" protobuf_key:"bytes,1,opt,name=key" protobuf_val:"bytes,2,opt,name=value" thrift:"6"`
+	V    int64              `json:"v" protobuf:"varint,1,opt,name=v" thrift:"1"`
+	Next *Rec145            `json:"next,omitempty" protobuf:"bytes,2,opt,name=next" thrift:"2"`
+	Kids []Rec145           `json:"kids,omitempty" protobuf:"bytes,3,rep,name=kids" thrift:"3"`
+	Peer *Peer145           `json:"peer,omitempty" protobuf:"bytes,4,opt,name=peer" thrift:"4"`
+	S    string             `json:"s,omitempty" protobuf:"bytes,5,opt,name=s" thrift:"5"`
+	X00  int64              `json:"x0,omitempty" protobuf:"varint,20,opt,name=x0" thrift:"20"`
+	X01  int64              `json:"x1,omitempty" protobuf:"varint,21,opt,name=x1" thrift:"21"`
+	X02  int64              `json:"x2,omitempty" protobuf:"varint,22,opt,name=x2" thrift:"22"`
+	X03  int64              `json:"x3,omitempty" protobuf:"varint,23,opt,name=x3" thrift:"23"`
+	X04  int64              `json:"x4,omitempty" protobuf:"varint,24,opt,name=x4" thrift:"24"`
+	X05  int64              `json:"x5,omitempty" protobuf:"varint,25,opt,name=x5" thrift:"25"`
+	X06  int64              `json:"x6,omitempty" protobuf:"varint,26,opt,name=x6" thrift:"26"`
+	X07  int64              `json:"x7,omitempty" protobuf:"varint,27,opt,name=x7" thrift:"27"`
+	X08  int64              `json:"x8,omitempty" protobuf:"varint,28,opt,name=x8" thrift:"28"`
+	X09  int64              `json:"x9,omitempty" protobuf:"varint,29,opt,name=x9" thrift:"29"`
+	X10  int64              `json:"x10,omitempty" protobuf:"varint,30,opt,name=x10" thrift:"30"`
+	X11  int64              `json:"x11,omitempty" protobuf:"varint,31,opt,name=x11" thrift:"31"`
+	X12  int64              `json:"x12,omitempty" protobuf:"varint,32,opt,name=x12" thrift:"32"`
+	X13  int64              `json:"x13,omitempty" protobuf:"varint,33,opt,name=x13" thrift:"33"`
+	X14  int64              `json:"x14,omitempty" protobuf:"varint,34,opt,name=x14" thrift:"34"`
+	X15  int64              `json:"x15,omitempty" protobuf:"varint,35,opt,name=x15" thrift:"35"`
+	X16  int64              `json:"x16,omitempty" protobuf:"varint,36,opt,name=x16" thrift:"36"`
+	X17  int64              `json:"x17,omitempty" protobuf:"varint,37,opt,name=x17" thrift:"37"`
+	X18  int64              `json:"x18,omitempty" protobuf:"varint,38,opt,name=x18" thrift:"38"`
+	X19  int64              `json:"x19,omitempty" protobuf:"varint,39,opt,name=x19" thrift:"39"`
+	X20  int64              `json:"x20,omitempty" protobuf:"varint,40,opt,name=x20" thrift:"40"`
+	X21  int64              `json:"x21,omitempty" protobuf:"varint,41,opt,name=x21" thrift:"41"`
+	X22  int64              `json:"x22,omitempty" protobuf:"varint,42,opt,name=x22" thrift:"42"`
+	X23  int64              `json:"x23,omitempty" protobuf:"varint,43,opt,name=x23" thrift:"43"`
 }
 
 type Peer145 struct {
@@ -2049,11 +5699,36 @@ type Peer145 struct {
 }
 
 type Rec146 struct {
-	V    int64    `json:"v" protobuf:"varint,1,opt,name=v" thrift:"1"`
-	Next *Rec146  `json:"next,omitempty" protobuf:"bytes,2,opt,name=next" thrift:"2"`
-	Kids []Rec146 `json:"kids,omitempty" protobuf:"bytes,3,rep,name=kids" thrift:"3"`
-	Peer *Peer146 `json:"peer,omitempty" protobuf:"bytes,4,opt,name=peer" thrift:"4"`
-	S    string   `json:"s,omitempty" protobuf:"bytes,5,opt,name=s" thrift:"5"`
+	M    map[string]Peer146 `json:"m,omitempty" protobuf:"bytes,6,rep,name=m" protobuf_key:"bytes,1,opt,name=key" protobuf_val:"bytes,2,opt,name=value" thrift:"6"`
+	V    int64              `json:"v" protobuf:"varint,1,opt,name=v" thrift:"1"`
+	Next *Rec146            `json:"next,omitempty" protobuf:"bytes,2,opt,name=next" thrift:"2"`
+	Kids []Rec146           `json:"kids,omitempty" protobuf:"bytes,3,rep,name=kids" thrift:"3"`
+	Peer *Peer146           `json:"peer,omitempty" protobuf:"bytes,4,opt,name=peer" thrift:"4"`
+	S    string             `json:"s,omitempty" protobuf:"bytes,5,opt,name=s" thrift:"5"`
+	X00  int64              `json:"x0,omitempty" protobuf:"varint,20,opt,name=x0" thrift:"20"`
+	X01  int64              `json:"x1,omitempty" protobuf:"varint,21,opt,name=x1" thrift:"21"`
+	X02  int64              `json:"x2,omitempty" protobuf:"varint,22,opt,name=x2" thrift:"22"`
+	X03  int64              `json:"x3,omitempty" protobuf:"varint,23,opt,name=x3" thrift:"23"`
+	X04  int64              `json:"x4,omitempty" protobuf:"varint,24,opt,name=x4" thrift:"24"`
+	X05  int64              `json:"x5,omitempty" protobuf:"varint,25,opt,name=x5" thrift:"25"`
+	X06  int64              `json:"x6,omitempty" protobuf:"varint,26,opt,name=x6" thrift:"26"`
+	X07  int64              `json:"x7,omitempty" protobuf:"varint,27,opt,name=x7" thrift:"27"`
+	X08  int64              `json:"x8,omitempty" protobuf:"varint,28,opt,name=x8" thrift:"28"`
+	X09  int64              `json:"x9,omitempty" protobuf:"varint,29,opt,name=x9" thrift:"29"`
+	X10  int64              `json:"x10,omitempty" protobuf:"varint,30,opt,name=x10" thrift:"30"`
+	X11  int64              `json:"x11,omitempty" protobuf:"varint,31,opt,name=x11" thrift:"31"`
+	X12  int64              `json:"x12,omitempty" protobuf:"varint,32,opt,name=x12" thrift:"32"`
+	X13  int64              `json:"x13,omitempty" protobuf:"varint,33,opt,name=x13" thrift:"33"`
+	X14  int64              `json:"x14,omitempty" protobuf:"varint,34,opt,name=x14" thrift:"34"`
+	X15  int64              `json:"x15,omitempty" protobuf:"varint,35,opt,name=x15" thrift:"35"`
+	X16  int64              `json:"x16,omitempty" protobuf:"varint,36,opt,name=x16" thrift:"36"`
+	X17  int64              `json:"x17,omitempty" protobuf:"varint,37,opt,name=x17" thrift:"37"`
+	X18  int64              `json:"x18,omitempty" protobuf:"varint,38,opt,name=x18" thrift:"38"`
+	X19  int64              `json:"x19,omitempty" protobuf:"varint,39,opt,name=x19" thrift:"39"`
+	X20  int64              `json:"x20,omitempty" protobuf:"varint,40,opt,name=x20" thrift:"40"`
+	X21  int64              `json:"x21,omitempty" protobuf:"varint,41,opt,name=x21" thrift:"41"`
+	X22  int64              `json:"x22,omitempty" protobuf:"varint,42,opt,name=x22" thrift:"42"`
+	X23  int64              `json:"x23,omitempty" protobuf:"varint,43,opt,name=x23" thrift:"43"`
 }
 
 type Peer146 struct {
@@ -2063,11 +5738,36 @@ type Peer146 struct {
 }
 
 type Rec147 struct {
-	V    int64    `json:"v" protobuf:"varint,1,opt,name=v" thrift:"1"`
-	Next *Rec147  `json:"next,omitempty" protobuf:"bytes,2,opt,name=next" thrift:"2"`
-	Kids []Rec147 `json:"kids,omitempty" protobuf:"bytes,3,rep,name=kids" thrift:"3"`
-	Peer *Peer147 `json:"peer,omitempty" protobuf:"bytes,4,opt,name=peer" thrift:"4"`
-	S    string   `json:"s,omitempty" protobuf:"bytes,5,opt,name=s" thrift:"5"`
+	M    map[string]Peer147 `json:"m,omitempty" protobuf:"bytes,6,rep,name=m" protobuf_key:"bytes,1,opt,name=key" protobuf_val:"bytes,2,opt,name=value" thrift:"6"`
+	V    int64              `json:"v" protobuf:"varint,1,opt,name=v" thrift:"1"`
+	Next *Rec147            `json:"next,omitempty" protobuf:"bytes,2,opt,name=next" thrift:"2"`
+	Kids []Rec147           `json:"kids,omitempty" protobuf:"bytes,3,rep,name=kids" thrift:"3"`
+	Peer *Peer147           `json:"peer,omitempty" protobuf:"bytes,4,opt,name=peer" thrift:"4"`
+	S    string             `json:"s,omitempty" protobuf:"bytes,5,opt,name=s" thrift:"5"`
+	X00  int64              `json:"x0,omitempty" protobuf:"varint,20,opt,name=x0" thrift:"20"`
+	X01  int64              `json:"x1,omitempty" protobuf:"varint,21,opt,name=x1" thrift:"21"`
+	X02  int64              `json:"x2,omitempty" protobuf:"varint,22,opt,name=x2" thrift:"22"`
+	X03  int64              `json:"x3,omitempty" protobuf:"varint,23,opt,name=x3" thrift:"23"`
+	X04  int64              `json:"x4,omitempty" protobuf:"varint,24,opt,name=x4" thrift:"24"`
+	X05  int64              `json:"x5,omitempty" protobuf:"varint,25,opt,name=x5" thrift:"25"`
+	X06  int64              `json:"x6,omitempty" protobuf:"varint,26,opt,name=x6" thrift:"26"`
+	X07  int64              `json:"x7,omitempty" protobuf:"varint,27,opt,name=x7" thrift:"27"`
+	X08  int64              `json:"x8,omitempty" protobuf:"varint,28,opt,name=x8" thrift:"28"`
+	X09  int64              `json:"x9,omitempty" protobuf:"varint,29,opt,name=x9" thrift:"29"`
+	X10  int64              `json:"x10,omitempty" protobuf:"varint,30,opt,name=x10" thrift:"30"`
+	X11  int64              `json:"x11,omitempty" protobuf:"varint,31,opt,name=x11" thrift:"31"`
+	X12  int64              `json:"x12,omitempty" protobuf:"varint,32,opt,name=x12" thrift:"32"`
+	X13  int64              `json:"x13,omitempty" protobuf:"varint,33,opt,name=x13" thrift:"33"`
+	X14  int64              `json:"x14,omitempty" protobuf:"varint,34,opt,name=x14" thrift:"34"`
+	X15  int64              `json:"x15,omitempty" protobuf:"varint,35,opt,name=x15" thrift:"35"`
+	X16  int64              `json:"x16,omitempty" protobuf:"varint,36,opt,name=x16" thrift:"36"`
+	X17  int64              `json:"x17,omitempty" protobuf:"varint,37,opt,name=x17" thrift:"37"`
+	X18  int64              `json:"x18,omitempty" protobuf:"varint,38,opt,name=x18" thrift:"38"`
+	X19  int64              `json:"x19,omitempty" protobuf:"varint,39,opt,name=x19" thrift:"39"`
+	X20  int64              `json:"x20,omitempty" protobuf:"varint,40,opt,name=x20" thrift:"40"`
+	X21  int64              `json:"x21,omitempty" protobuf:"varint,41,opt,name=x21" thrift:"41"`
+	X22  int64              `json:"x22,omitempty" protobuf:"varint,42,opt,name=x22" thrift:"42"`
+	X23  int64              `json:"x23,omitempty" protobuf:"varint,43,opt,name=x23" thrift:"43"`
 }
 
 type Peer147 struct {
@@ -2077,11 +5777,36 @@ type Peer147 struct {
 }
 
 type Rec148 struct {
-	V    int64    `json:"v" protobuf:"varint,1,opt,name=v" thrift:"1"`
-	Next *Rec148  `json:"next,omitempty" protobuf:"bytes,2,opt,name=next" thrift:"2"`
-	Kids []Rec148 `json:"kids,omitempty" protobuf:"bytes,3,rep,name=kids" thrift:"3"`
-	Peer *Peer148 `json:"peer,omitempty" protobuf:"bytes,4,opt,name=peer" thrift:"4"`
-	S    string   `json:"s,omitempty" protobuf:"bytes,5,opt,name=s" thrift:"5"`
+	M    map[string]Peer148 `json:"m,omitempty" protobuf:"bytes,6,rep,name=m" protobuf_key:"bytes,1,opt,name=key" protobuf_val:"bytes,2,opt,name=value" thrift:"6"`
+	V    int64              `json:"v" protobuf:"varint,1,opt,name=v" thrift:"1"`
+	Next *Rec148            `json:"next,omitempty" protobuf:"bytes,2,opt,name=next" thrift:"2"`
+	Kids []Rec148           `json:"kids,omitempty" protobuf:"bytes,3,rep,name=kids" thrift:"3"`
+	Peer *Peer148           `json:"peer,omitempty" protobuf:"bytes,4,opt,name=peer" thrift:"4"`
+	S    string             `json:"s,omitempty" protobuf:"bytes,5,opt,name=s" thrift:"5"`
+	X00  int64              `json:"x0,omitempty" protobuf:"varint,20,opt,name=x0" thrift:"20"`
+	X01  int64              `json:"x1,omitempty" protobuf:"varint,21,opt,name=x1" thrift:"21"`
+	X02  int64              `json:"x2,omitempty" protobuf:"varint,22,opt,name=x2" thrift:"22"`
+	X03  int64              `json:"x3,omitempty" protobuf:"varint,23,opt,name=x3" thrift:"23"`
+	X04  int64              `json:"x4,omitempty" protobuf:"varint,24,opt,name=x4" thrift:"24"`
+	X05  int64              `json:"x5,omitempty" protobuf:"varint,25,opt,name=x5" thrift:"25"`
+	X06  int64              `json:"x6,omitempty" protobuf:"varint,26,opt,name=x6" thrift:"26"`
+	X07  int64              `json:"x7,omitempty" protobuf:"varint,27,opt,name=x7" thrift:"27"`
+	X08  int64              `json:"x8,omitempty" protobuf:"varint,28,opt,name=x8" thrift:"28"`
+	X09  int64              `json:"x9,omitempty" protobuf:"varint,29,opt,name=x9" thrift:"29"`
+	X10  int64              `json:"x10,omitempty" protobuf:"varint,30,opt,name=x10" thrift:"30"`
+	X11  int64              `json:"x11,omitempty" protobuf:"varint,31,opt,name=x11" thrift:"31"`
+	X12  int64              `json:"x12,omitempty" protobuf:"varint,32,opt,name=x12" thrift:"32"`
+	X13  int64              `json:"x13,omitempty" protobuf:"varint,33,opt,name=x13" thrift:"33"`
+	X14  int64              `json:"x14,omitempty" protobuf:"varint,34,opt,name=x14" thrift:"34"`
+	X15  int64              `json:"x15,omitempty" protobuf:"varint,35,opt,name=x15" thrift:"35"`
+	X16  int64              `json:"x16,omitempty" protobuf:"varint,36,opt,name=x16" thrift:"36"`
+	X17  int64              `json:"x17,omitempty" protobuf:"varint,37,opt,name=x17" thrift:"37"`
+	X18  int64              `json:"x18,omitempty" protobuf:"varint,38,opt,name=x18" thrift:"38"`
+	X19  int64              `json:"x19,omitempty" protobuf:"varint,39,opt,name=x19" thrift:"39"`
+	X20  int64              `json:"x20,omitempty" protobuf:"varint,40,opt,name=x20" thrift:"40"`
+	X21  int64              `json:"x21,omitempty" protobuf:"varint,41,opt,name=x21" thrift:"41"`
+	X22  int64              `json:"x22,omitempty" protobuf:"varint,42,opt,name=x22" thrift:"42"`
+	X23  int64              `json:"x23,omitempty" protobuf:"varint,43,opt,name=x23" thrift:"43"`
 }
 
 type Peer148 struct {
@@ -2091,11 +5816,36 @@ type Peer148 struct {
 }
 
 type Rec149 struct {
-	V    int64    `json:"v" protobuf:"varint,1,opt,name=v" thrift:"1"`
-	Next *Rec149  `json:"next,omitempty" protobuf:"bytes,2,opt,name=next" thrift:"2"`
-	Kids []Rec149 `json:"kids,omitempty" protobuf:"bytes,3,rep,name=kids" thrift:"3"`
-	Peer *Peer149 `json:"peer,omitempty" protobuf:"bytes,4,opt,name=peer" thrift:"4"`
-	S    string   `json:"s,omitempty" protobuf:"bytes,5,opt,name=s" thrift:"5"`
+	M    map[string]Peer149 `json:"m,omitempty" protobuf:"bytes,6,rep,name=m" protobuf_key:"bytes,1,opt,name=key" protobuf_val:"bytes,2,opt,name=value" thrift:"6"`
+	V    int64              `json:"v" protobuf:"varint,1,opt,name=v" thrift:"1"`
+	Next *Rec149            `json:"next,omitempty" protobuf:"bytes,2,opt,name=next" thrift:"2"`
+	Kids []Rec149           `json:"kids,omitempty" protobuf:"bytes,3,rep,name=kids" thrift:"3"`
+	Peer *Peer149           `json:"peer,omitempty" protobuf:"bytes,4,opt,name=peer" thrift:"4"`
+	S    string             `json:"s,omitempty" protobuf:"bytes,5,opt,name=s" thrift:"5"`
+	X00  int64              `json:"x0,omitempty" protobuf:"varint,20,opt,name=x0" thrift:"20"`
+	X01  int64              `json:"x1,omitempty" protobuf:"varint,21,opt,name=x1" thrift:"21"`
+	X02  int64              `json:"x2,omitempty" protobuf:"varint,22,opt,name=x2" thrift:"22"`
+	X03  int64              `json:"x3,omitempty" protobuf:"varint,23,opt,name=x3" thrift:"23"`
+	X04  int64              `json:"x4,omitempty" protobuf:"varint,24,opt,name=x4" thrift:"24"`
+	X05  int64              `json:"x5,omitempty" protobuf:"varint,25,opt,name=x5" thrift:"25"`
+	X06  int64              `json:"x6,omitempty" protobuf:"varint,26,opt,name=x6" thrift:"26"`
+	X07  int64              `json:"x7,omitempty" protobuf:"varint,27,opt,name=x7" thrift:"27"`
+	X08  int64              `json:"x8,omitempty" protobuf:"varint,28,opt,name=x8" thrift:"28"`
+	X09  int64              `json:"x9,omitempty" protobuf:"varint,29,opt,name=x9" thrift:"29"`
+	X10  int64              `json:"x10,omitempty" protobuf:"varint,30,opt,name=x10" thrift:"30"`
+	X11  int64              `json:"x11,omitempty" protobuf:"varint,31,opt,name=x11" thrift:"31"`
+	X12  int64              `json:"x12,omitempty" protobuf:"varint,32,opt,name=x12" thrift:"32"`
+	X13  int64              `json:"x13,omitempty" protobuf:"varint,33,opt,name=x13" thrift:"33"`
+	X14  int64              `json:"x14,omitempty" protobuf:"varint,34,opt,name=x14" thrift:"34"`
+	X15  int64              `json:"x15,omitempty" protobuf:"varint,35,opt,name=x15" thrift:"35"`
+	X16  int64              `json:"x16,omitempty" protobuf:"varint,36,opt,name=x16" thrift:"36"`
+	X17  int64              `json:"x17,omitempty" protobuf:"varint,37,opt,name=x17" thrift:"37"`
+	X18  int64              `json:"x18,omitempty" protobuf:"varint,38,opt,name=x18" thrift:"38"`
+	X19  int64              `json:"x19,omitempty" protobuf:"varint,39,opt,name=x19" thrift:"39"`
+	X20  int64              `json:"x20,omitempty" protobuf:"varint,40,opt,name=x20" thrift:"40"`
+	X21  int64              `json:"x21,omitempty" protobuf:"varint,41,opt,name=x21" thrift:"41"`
+	X22  int64              `json:"x22,omitempty" protobuf:"varint,42,opt,name=x22" thrift:"42"`
+	X23  int64              `json:"x23,omitempty" protobuf:"varint,43,opt,name=x23" thrift:"43"`
 }
 
 type Peer149 struct {
@@ -2105,11 +5855,36 @@ type Peer149 struct {
 }
 
 type Rec150 struct {
-	V    int64    `json:"v" protobuf:"varint,1,opt,name=v" thrift:"1"`
-	Next *Rec150  `json:"next,omitempty" protobuf:"bytes,2,opt,name=next" thrift:"2"`
-	Kids []Rec150 `json:"kids,omitempty" protobuf:"bytes,3,rep,name=kids" thrift:"3"`
-	Peer *Peer150 `json:"peer,omitempty" protobuf:"bytes,4,opt,name=peer" thrift:"4"`
-	S    string   `json:"s,omitempty" protobuf:"bytes,5,opt,name=s" thrift:"5"`
+	M    map[string]Peer150 `json:"m,omitempty" protobuf:"bytes,6,rep,name=m" protobuf_key:"bytes,1,opt,name=key" protobuf_val:"bytes,2,opt,name=value" thrift:"6"`
+	V    int64              `json:"v" protobuf:"varint,1,opt,name=v" thrift:"1"`
+	Next *Rec150            `json:"next,omitempty" protobuf:"bytes,2,opt,name=next" thrift:"2"`
+	Kids []Rec150           `json:"kids,omitempty" protobuf:"bytes,3,rep,name=kids" thrift:"3"`
+	Peer *Peer150           `json:"peer,omitempty" protobuf:"bytes,4,opt,name=peer" thrift:"4"`
+	S    string             `json:"s,omitempty" protobuf:"bytes,5,opt,name=s" thrift:"5"`
+	X00  int64              `json:"x0,omitempty" protobuf:"varint,20,opt,name=x0" thrift:"20"`
+	X01  int64              `json:"x1,omitempty" protobuf:"varint,21,opt,name=x1" thrift:"21"`
+	X02  int64              `json:"x2,omitempty" protobuf:"varint,22,opt,name=x2" thrift:"22"`
+	X03  int64              `json:"x3,omitempty" protobuf:"varint,23,opt,name=x3" thrift:"23"`
+	X04  int64              `json:"x4,omitempty" protobuf:"varint,24,opt,name=x4" thrift:"24"`
+	X05  int64              `json:"x5,omitempty" protobuf:"varint,25,opt,name=x5" thrift:"25"`
+	X06  int64              `json:"x6,omitempty" protobuf:"varint,26,opt,name=x6" thrift:"26"`
+	X07  int64              `json:"x7,omitempty" protobuf:"varint,27,opt,name=x7" thrift:"27"`
+	X08  int64              `json:"x8,omitempty" protobuf:"varint,28,opt,name=x8" thrift:"28"`
+	X09  int64              `json:"x9,omitempty" protobuf:"varint,29,opt,name=x9" thrift:"29"`
+	X10  int64              `json:"x10,omitempty" protobuf:"varint,30,opt,name=x10" thrift:"30"`
+	X11  int64              `json:"x11,omitempty" protobuf:"varint,31,opt,name=x11" thrift:"31"`
+	X12  int64              `json:"x12,omitempty" protobuf:"varint,32,opt,name=x12" thrift:"32"`
+	X13  int64              `json:"x13,omitempty" protobuf:"varint,33,opt,name=x13" thrift:"33"`
+	X14  int64              `json:"x14,omitempty" protobuf:"varint,34,opt,name=x14" thrift:"34"`
+	X15  int64              `json:"x15,omitempty" protobuf:"varint,35,opt,name=x15" thrift:"35"`
+	X16  int64              `json:"x16,omitempty" protobuf:"varint,36,opt,name=x16" thrift:"36"`
+	X17  int64              `json:"x17,omitempty" protobuf:"varint,37,opt,name=x17" thrift:"37"`
+	X18  int64              `json:"x18,omitempty" protobuf:"varint,38,opt,name=x18" thrift:"38"`
+	X19  int64              `json:"x19,omitempty" protobuf:"varint,39,opt,name=x19" thrift:"39"`
+	X20  int64              `json:"x20,omitempty" protobuf:"varint,40,opt,name=x20" thrift:"40"`
+	X21  int64              `json:"x21,omitempty" protobuf:"varint,41,opt,name=x21" thrift:"41"`
+	X22  int64              `json:"x22,omitempty" protobuf:"varint,42,opt,name=x22" thrift:"42"`
+	X23  int64              `json:"x23,omitempty" protobuf:"varint,43,opt,name=x23" thrift:"43"`
 }
 
 type Peer150 struct {
@@ -2119,11 +5894,36 @@ type Peer150 struct {
 }
 
 type Rec151 struct {
-	V    int64    `json:"v" protobuf:"varint,1,opt,name=v" thrift:"1"`
-	Next *Rec151  `json:"next,omitempty" protobuf:"bytes,2,opt,name=next" thrift:"2"`
-	Kids []Rec151 `json:"kids,omitempty" protobuf:"bytes,3,rep,name=kids" thrift:"3"`
-	Peer *Peer151 `json:"peer,omitempty" protobuf:"bytes,4,opt,name=peer" thrift:"4"`
-	S    string   `json:"s,omitempty" protobuf:"bytes,5,opt,name=s" thrift:"5"`
+	M    map[string]Peer151 `json:"m,omitempty" protobuf:"bytes,6,rep,name=m" protobuf_key:"bytes,1,opt,name=key" protobuf_val:"bytes,2,opt,name=value" thrift:"6"`
+	V    int64              `json:"v" protobuf:"varint,1,opt,name=v" thrift:"1"`
+	Next *Rec151            `json:"next,omitempty" protobuf:"bytes,2,opt,name=next" thrift:"2"`
+	Kids []Rec151           `json:"kids,omitempty" protobuf:"bytes,3,rep,name=kids" thrift:"3"`
+	Peer *Peer151           `json:"peer,omitempty" protobuf:"bytes,4,opt,name=peer" thrift:"4"`
+	S    string             `json:"s,omitempty" protobuf:"bytes,5,opt,name=s" thrift:"5"`
+	X00  int64              `json:"x0,omitempty" protobuf:"varint,20,opt,name=x0" thrift:"20"`
+	X01  int64              `json:"x1,omitempty" protobuf:"varint,21,opt,name=x1" thrift:"21"`
+	X02  int64              `json:"x2,omitempty" protobuf:"varint,22,opt,name=x2" thrift:"22"`
+	X03  int64              `json:"x3,omitempty" protobuf:"varint,23,opt,name=x3" thrift:"23"`
+	X04  int64              `json:"x4,omitempty" protobuf:"varint,24,opt,name=x4" thrift:"24"`
+	X05  int64              `json:"x5,omitempty" protobuf:"varint,25,opt,name=x5" thrift:"25"`
+	X06  int64              `json:"x6,omitempty" protobuf:"varint,26,opt,name=x6" thrift:"26"`
+	X07  int64              `json:"x7,omitempty" protobuf:"varint,27,opt,name=x7" thrift:"27"`
+	X08  int64              `json:"x8,omitempty" protobuf:"varint,28,opt,name=x8" thrift:"28"`
+	X09  int64              `json:"x9,omitempty" protobuf:"varint,29,opt,name=x9" thrift:"29"`
+	X10  int64              `json:"x10,omitempty" protobuf:"varint,30,opt,name=x10" thrift:"30"`
+	X11  int64              `json:"x11,omitempty" protobuf:"varint,31,opt,name=x11" thrift:"31"`
+	X12  int64              `json:"x12,omitempty" protobuf:"varint,32,opt,name=x12" thrift:"32"`
+	X13  int64              `json:"x13,omitempty" protobuf:"varint,33,opt,name=x13" thrift:"33"`
+	X14  int64              `json:"x14,omitempty" protobuf:"varint,34,opt,name=x14" thrift:"34"`
+	X15  int64              `json:"x15,omitempty" protobuf:"varint,35,opt,name=x15" thrift:"35"`
+	X16  int64              `json:"x16,omitempty" protobuf:"varint,36,opt,name=x16" thrift:"36"`
+	X17  int64              `json:"x17,omitempty" protobuf:"varint,37,opt,name=x17" thrift:"37"`
+	X18  int64              `json:"x18,omitempty" protobuf:"varint,38,opt,name=x18" thrift:"38"`
+	X19  int64              `json:"x19,omitempty" protobuf:"varint,39,opt,name=x19" thrift:"39"`
+	X20  int64              `json:"x20,omitempty" protobuf:"varint,40,opt,name=x20" thrift:"40"`
+	X21  int64              `json:"x21,omitempty" protobuf:"varint,41,opt,name=x21" thrift:"41"`
+	X22  int64              `json:"x22,omitempty" protobuf:"varint,42,opt,name=x22" thrift:"42"`
+	X23  int64              `json:"x23,omitempty" protobuf:"varint,43,opt,name=x23" thrift:"43"`
 }
 
 type Peer151 struct {
@@ -2133,11 +5933,36 @@ type Peer151 struct {
 }
 
 type Rec152 struct {
-	V    int64    `json:"v" protobuf:"varint,1,opt,name=v" thrift:"1"`
-	Next *Rec152  `json:"next,omitempty" protobuf:"bytes,2,opt,name=next" thrift:"2"`
-	Kids []Rec152 `json:"kids,omitempty" protobuf:"bytes,3,rep,name=kids" thrift:"3"`
-	Peer *Peer152 `json:"peer,omitempty" protobuf:"bytes,4,opt,name=peer" thrift:"4"`
-	S    string   `json:"s,omitempty" protobuf:"bytes,5,opt,name=s" thrift:"5"`
+	M    map[string]Peer152 `json:"m,omitempty" protobuf:"bytes,6,rep,name=m" protobuf_key:"bytes,1,opt,name=key" protobuf_val:"bytes,2,opt,name=value" thrift:"6"`
+	V    int64              `json:"v" protobuf:"varint,1,opt,name=v" thrift:"1"`
+	Next *Rec152            `json:"next,omitempty" protobuf:"bytes,2,opt,name=next" thrift:"2"`
+	Kids []Rec152           `json:"kids,omitempty" protobuf:"bytes,3,rep,name=kids" thrift:"3"`
+	Peer *Peer152           `json:"peer,omitempty" protobuf:"bytes,4,opt,name=peer" thrift:"4"`
+	S    string             `json:"s,omitempty" protobuf:"bytes,5,opt,name=s" thrift:"5"`
+	X00  int64              `json:"x0,omitempty" protobuf:"varint,20,opt,name=x0" thrift:"20"`
+	X01  int64              `json:"x1,omitempty" protobuf:"varint,21,opt,name=x1" thrift:"21"`
+	X02  int64              `json:"x2,omitempty" protobuf:"varint,22,opt,name=x2" thrift:"22"`
+	X03  int64              `json:"x3,omitempty" protobuf:"varint,23,opt,name=x3" thrift:"23"`
+	X04  int64              `json:"x4,omitempty" protobuf:"varint,24,opt,name=x4" thrift:"24"`
+	X05  int64              `json:"x5,omitempty" protobuf:"varint,25,opt,name=x5" thrift:"25"`
+	X06  int64              `json:"x6,omitempty" protobuf:"varint,26,opt,name=x6" thrift:"26"`
+	X07  int64              `json:"x7,omitempty" protobuf:"varint,27,opt,name=x7" thrift:"27"`
+	X08  int64              `json:"x8,omitempty" protobuf:"varint,28,opt,name=x8" thrift:"28"`
+	X09  int64              `json:"x9,omitempty" protobuf:"varint,29,opt,name=x9" thrift:"29"`
+	X10  int64              `json:"x10,omitempty" protobuf:"varint,30,opt,name=x10" thrift:"30"`
+	X11  int64              `json:"x11,omitempty" protobuf:"varint,31,opt,name=x11" thrift:"31"`
+	X12  int64              `json:"x12,omitempty" protobuf:"varint,32,opt,name=x12" thrift:"32"`
+	X13  int64              `json:"x13,omitempty" protobuf:"varint,33,opt,name=x13" thrift:"33"`
+	X14  int64              `json:"x14,omitempty" protobuf:"varint,34,opt,name=x14" thrift:"34"`
+	X15  int64              `json:"x15,omitempty" protobuf:"varint,35,opt,name=x15" thrift:"35"`
+	X16  int64              `json:"x16,omitempty" protobuf:"varint,36,opt,name=x16" thrift:"36"`
+	X17  int64              `json:"x17,omitempty" protobuf:"varint,37,opt,name=x17" thrift:"37"`
+	X18  int64              `json:"x18,omitempty" protobuf:"varint,38,opt,name=x18" thrift:"38"`
+	X19  int64              `json:"x19,omitempty" protobuf:"varint,39,opt,name=x19" thrift:"39"`
+	X20  int64              `json:"x20,omitempty" protobuf:"varint,40,opt,name=x20" thrift:"40"`
+	X21  int64              `json:"x21,omitempty" protobuf:"varint,41,opt,name=x21" thrift:"41"`
+	X22  int64              `json:"x22,omitempty" protobuf:"varint,42,opt,name=x22" thrift:"42"`
+	X23  int64              `json:"x23,omitempty" protobuf:"varint,43,opt,name=x23" thrift:"43"`
 }
 
 type Peer152 struct {
@@ -2147,11 +5972,36 @@ type Peer152 struct {
 }
 
 type Rec153 struct {
-	V    int64    `json:"v" protobuf:"varint,1,opt,name=v" thrift:"1"`
-	Next *Rec153  `json:"next,omitempty" protobuf:"bytes,2,opt,name=next" thrift:"2"`
-	Kids []Rec153 `json:"kids,omitempty" protobuf:"bytes,3,rep,name=kids" thrift:"3"`
-	Peer *Peer153 `json:"peer,omitempty" protobuf:"bytes,4,opt,name=peer" thrift:"4"`
-	S    string   `json:"s,omitempty" protobuf:"bytes,5,opt,name=s" thrift:"5"`
+	M    map[string]Peer153 `json:"m,omitempty" protobuf:"bytes,6,rep,name=m" protobuf_key:"bytes,1,opt,name=key" protobuf_val:"bytes,2,opt,name=value" thrift:"6"`
+	V    int64              `json:"v" protobuf:"varint,1,opt,name=v" thrift:"1"`
+	Next *Rec153            `json:"next,omitempty" protobuf:"bytes,2,opt,name=next" thrift:"2"`
+	Kids []Rec153           `json:"kids,omitempty" protobuf:"bytes,3,rep,name=kids" thrift:"3"`
+	Peer *Peer153           `json:"peer,omitempty" protobuf:"bytes,4,opt,name=peer" thrift:"4"`
+	S    string             `json:"s,omitempty" protobuf:"bytes,5,opt,name=s" thrift:"5"`
+	X00  int64              `json:"x0,omitempty" protobuf:"varint,20,opt,name=x0" thrift:"20"`
+	X01  int64              `json:"x1,omitempty" protobuf:"varint,21,opt,name=x1" thrift:"21"`
+	X02  int64              `json:"x2,omitempty" protobuf:"varint,22,opt,name=x2" thrift:"22"`
+	X03  int64              `json:"x3,omitempty" protobuf:"varint,23,opt,name=x3" thrift:"23"`
+	X04  int64              `json:"x4,omitempty" protobuf:"varint,24,opt,name=x4" thrift:"24"`
+	X05  int64              `json:"x5,omitempty" protobuf:"varint,25,opt,name=x5" thrift:"25"`
+	X06  int64              `json:"x6,omitempty" protobuf:"varint,26,opt,name=x6" thrift:"26"`
+	X07  int64              `json:"x7,omitempty" protobuf:"varint,27,opt,name=x7" thrift:"27"`
+	X08  int64              `json:"x8,omitempty" protobuf:"varint,28,opt,name=x8" thrift:"28"`
+	X09  int64              `json:"x9,omitempty" protobuf:"varint,29,opt,name=x9" thrift:"29"`
+	X10  int64              `json:"x10,omitempty" protobuf:"varint,30,opt,name=x10" thrift:"30"`
+	X11  int64              `json:"x11,omitempty" protobuf:"varint,31,opt,name=x11" thrift:"31"`
+	X12  int64              `json:"x12,omitempty" protobuf:"varint,32,opt,name=x12" thrift:"32"`
+	X13  int64              `json:"x13,omitempty" protobuf:"varint,33,opt,name=x13" thrift:"33"`
+	X14  int64              `json:"x14,omitempty" protobuf:"varint,34,opt,name=x14" thrift:"34"`
+	X15  int64              `json:"x15,omitempty" protobuf:"varint,35,opt,name=x15" thrift:"35"`
+	X16  int64              `json:"x16,omitempty" protobuf:"varint,36,opt,name=x16" thrift:"36"`
+	X17  int64              `json:"x17,omitempty" protobuf:"varint,37,opt,name=x17" thrift:"37"`
+	X18  int64              `json:"x18,omitempty" protobuf:"varint,38,opt,name=x18" thrift:"38"`
+	X19  int64              `json:"x19,omitempty" protobuf:"varint,39,opt,name=x19" thrift:"39"`
+	X20  int64              `json:"x20,omitempty" protobuf:"varint,40,opt,name=x20" thrift:"40"`
+	X21  int64              `json:"x21,omitempty" protobuf:"varint,41,opt,name=x21" thrift:"41"`
+	X22  int64              `json:"x22,omitempty" protobuf:"varint,42,opt,name=x22" thrift:"42"`
+	X23  int64              `json:"x23,omitempty" protobuf:"varint,43,opt,name=x23" thrift:"43"`
 }
 
 type Peer153 struct {
@@ -2161,11 +6011,36 @@ type Peer153 struct {
 }
 
 type Rec154 struct {
-	V    int64    `json:"v" protobuf:"varint,1,opt,name=v" thrift:"1"`
-	Next *Rec154  `json:"next,omitempty" protobuf:"bytes,2,opt,name=next" thrift:"2"`
-	Kids []Rec154 `json:"kids,omitempty" protobuf:"bytes,3,rep,name=kids" thrift:"3"`
-	Peer *Peer154 `json:"peer,omitempty" protobuf:"bytes,4,opt,name=peer" thrift:"4"`
-	S    string   `json:"s,omitempty" protobuf:"bytes,5,opt,name=s" thrift:"5"`
+	M    map[string]Peer154 `json:"m,omitempty" protobuf:"bytes,6,rep,name=m" protobuf_key:"bytes,1,opt,name=key" protobuf_val:"bytes,2,opt,name=value" thrift:"6"`
+	V    int64              `json:"v" protobuf:"varint,1,opt,name=v" thrift:"1"`
+	Next *Rec154            `json:"next,omitempty" protobuf:"bytes,2,opt,name=next" thrift:"2"`
+	Kids []Rec154           `json:"kids,omitempty" protobuf:"bytes,3,rep,name=kids" thrift:"3"`
+	Peer *Peer154           `json:"peer,omitempty" protobuf:"bytes,4,opt,name=peer" thrift:"4"`
+	S    string             `json:"s,omitempty" protobuf:"bytes,5,opt,name=s" thrift:"5"`
+	X00  int64              `json:"x0,omitempty" protobuf:"varint,20,opt,name=x0" thrift:"20"`
+	X01  int64              `json:"x1,omitempty" protobuf:"varint,21,opt,name=x1" thrift:"21"`
+	X02  int64              `json:"x2,omitempty" protobuf:"varint,22,opt,name=x2" thrift:"22"`
+	X03  int64              `json:"x3,omitempty" protobuf:"varint,23,opt,name=x3" thrift:"23"`
+	X04  int64              `json:"x4,omitempty" protobuf:"varint,24,opt,name=x4" thrift:"24"`
+	X05  int64              `json:"x5,omitempty" protobuf:"varint,25,opt,name=x5" thrift:"25"`
+	X06  int64              `json:"x6,omitempty" protobuf:"varint,26,opt,name=x6" thrift:"26"`
+	X07  int64              `json:"x7,omitempty" protobuf:"varint,27,opt,name=x7" thrift:"27"`
+	X08  int64              `json:"x8,omitempty" protobuf:"varint,28,opt,name=x8" thrift:"28"`
+	X09  int64              `json:"x9,omitempty" protobuf:"varint,29,opt,name=x9" thrift:"29"`
+	X10  int64              `json:"x10,omitempty" protobuf:"varint,30,opt,name=x10" thrift:"30"`
+	X11  int64              `json:"x11,omitempty" protobuf:"varint,31,opt,name=x11" thrift:"31"`
+	X12  int64              `json:"x12,omitempty" protobuf:"varint,32,opt,name=x12" thrift:"32"`
+	X13  int64              `json:"x13,omitempty" protobuf:"varint,33,opt,name=x13" thrift:"33"`
+	X14  int64              `json:"x14,omitempty" protobuf:"varint,34,opt,name=x14" thrift:"34"`
+	X15  int64              `json:"x15,omitempty" protobuf:"varint,35,opt,name=x15" thrift:"35"`
+	X16  int64              `json:"x16,omitempty" protobuf:"varint,36,opt,name=x16" thrift:"36"`
+	X17  int64              `json:"x17,omitempty" protobuf:"varint,37,opt,name=x17" thrift:"37"`
+	X18  int64              `json:"x18,omitempty" protobuf:"varint,38,opt,name=x18" thrift:"38"`
+	X19  int64              `json:"x19,omitempty" protobuf:"varint,39,opt,name=x19" thrift:"39"`
+	X20  int64              `json:"x20,omitempty" protobuf:"varint,40,opt,name=x20" thrift:"40"`
+	X21  int64              `json:"x21,omitempty" protobuf:"varint,41,opt,name=x21" thrift:"41"`
+	X22  int64              `json:"x22,omitempty" protobuf:"varint,42,opt,name=x22" thrift:"42"`
+	X23  int64              `json:"x23,omitempty" protobuf:"varint,43,opt,name=x23" thrift:"43"`
 }
 
 type Peer154 struct {
@@ -2175,11 +6050,36 @@ type Peer154 struct {
 }
 
 type Rec155 struct {
-	V    int64    `json:"v" protobuf:"varint,1,opt,name=v" thrift:"1"`
-	Next *Rec155  `json:"next,omitempty" protobuf:"bytes,2,opt,name=next" thrift:"2"`
-	Kids []Rec155 `json:"kids,omitempty" protobuf:"bytes,3,rep,name=kids" thrift:"3"`
-	Peer *Peer155 `json:"peer,omitempty" protobuf:"bytes,4,opt,name=peer" thrift:"4"`
-	S    string   `json:"s,omitempty" protobuf:"bytes,5,opt,name=s" thrift:"5"`
+	M    map[string]Peer155 `json:"m,omitempty" protobuf:"bytes,6,rep,name=m" protobuf_key:"bytes,1,opt,name=key" protobuf_val:"bytes,2,opt,name=value" thrift:"6"`
+	V    int64              `json:"v" protobuf:"varint,1,opt,name=v" thrift:"1"`
+	Next *Rec155            `json:"next,omitempty" protobuf:"bytes,2,opt,name=next" thrift:"2"`
+	Kids []Rec155           `json:"kids,omitempty" protobuf:"bytes,3,rep,name=kids" thrift:"3"`
+	Peer *Peer155           `json:"peer,omitempty" protobuf:"bytes,4,opt,name=peer" thrift:"4"`
+	S    string             `json:"s,omitempty" protobuf:"bytes,5,opt,name=s" thrift:"5"`
+	X00  int64              `json:"x0,omitempty" protobuf:"varint,20,opt,name=x0" thrift:"20"`
+	X01  int64              `json:"x1,omitempty" protobuf:"varint,21,opt,name=x1" thrift:"21"`
+	X02  int64              `json:"x2,omitempty" protobuf:"varint,22,opt,name=x2" thrift:"22"`
+	X03  int64              `json:"x3,omitempty" protobuf:"varint,23,opt,name=x3" thrift:"23"`
+	X04  int64              `json:"x4,omitempty" protobuf:"varint,24,opt,name=x4" thrift:"24"`
+	X05  int64              `json:"x5,omitempty" protobuf:"varint,25,opt,name=x5" thrift:"25"`
+	X06  int64              `json:"x6,omitempty" protobuf:"varint,26,opt,name=x6" thrift:"26"`
+	X07  int64              `json:"x7,omitempty" protobuf:"varint,27,opt,name=x7" thrift:"27"`
+	X08  int64              `json:"x8,omitempty" protobuf:"varint,28,opt,name=x8" thrift:"28"`
+	X09  int64              `json:"x9,omitempty" protobuf:"varint,29,opt,name=x9" thrift:"29"`
+	X10  int64              `json:"x10,omitempty" protobuf:"varint,30,opt,name=x10" thrift:"30"`
+	X11  int64              `json:"x11,omitempty" protobuf:"varint,31,opt,name=x11" thrift:"31"`
+	X12  int64              `json:"x12,omitempty" protobuf:"varint,32,opt,name=x12" thrift:"32"`
+	X13  int64              `json:"x13,omitempty" protobuf:"varint,33,opt,name=x13" thrift:"33"`
+	X14  int64              `json:"x14,omitempty" protobuf:"varint,34,opt,name=x14" thrift:"34"`
+	X15  int64              `json:"x15,omitempty" protobuf:"varint,35,opt,name=x15" thrift:"35"`
+	X16  int64              `json:"x16,omitempty" protobuf:"varint,36,opt,name=x16" thrift:"36"`
+	X17  int64              `json:"x17,omitempty" protobuf:"varint,37,opt,name=x17" thrift:"37"`
+	X18  int64              `json:"x18,omitempty" protobuf:"varint,38,opt,name=x18" thrift:"38"`
+	X19  int64              `json:"x19,omitempty" protobuf:"varint,39,opt,name=x19" thrift:"39"`
+	X20  int64              `json:"x20,omitempty" protobuf:"varint,40,opt,name=x20" thrift:"40"`
+	X21  int64              `json:"x21,omitempty" protobuf:"varint,41,opt,name=x21" thrift:"41"`
+	X22  int64              `json:"x22,omitempty" protobuf:"varint,42,opt,name=x22" thrift:"42"`
+	X23  int64              `json:"x23,omitempty" protobuf:"varint,43,opt,name=x23" thrift:"43"`
 }
 
 type Peer155 struct {
@@ -2189,11 +6089,36 @@ type Peer155 struct {
 }
 
 type Rec156 struct {
-	V    int64    `json:"v" protobuf:"varint,1,opt,name=v" thrift:"1"`
-	Next *Rec156  `json:"next,omitempty" protobuf:"bytes,2,opt,name=next" thrift:"2"`
-	Kids []Rec156 `json:"kids,omitempty" protobuf:"bytes,3,rep,name=kids" thrift:"3"`
-	Peer *Peer156 `json:"peer,omitempty" protobuf:"bytes,4,opt,name=peer" thrift:"4"`
-	S    string   `json:"s,omitempty" protobuf:"bytes,5,opt,name=s" thrift:"5"`
+	M    map[string]Peer156 `json:"m,omitempty" protobuf:"bytes,6,rep,name=m" protobuf_key:"bytes,1,opt,name=key" protobuf_val:"bytes,2,opt,name=value" thrift:"6"`
+	V    int64              `json:"v" protobuf:"varint,1,opt,name=v" thrift:"1"`
+	Next *Rec156            `json:"next,omitempty" protobuf:"bytes,2,opt,name=next" thrift:"2"`
+	Kids []Rec156           `json:"kids,omitempty" protobuf:"bytes,3,rep,name=kids" thrift:"3"`
+	Peer *Peer156           `json:"peer,omitempty" protobuf:"bytes,4,opt,name=peer" thrift:"4"`
+	S    string             `json:"s,omitempty" protobuf:"bytes,5,opt,name=s" thrift:"5"`
+	X00  int64              `json:"x0,omitempty" protobuf:"varint,20,opt,name=x0" thrift:"20"`
+	X01  int64              `json:"x1,omitempty" protobuf:"varint,21,opt,name=x1" thrift:"21"`
+	X02  int64              `json:"x2,omitempty" protobuf:"varint,22,opt,name=x2" thrift:"22"`
+	X03  int64              `json:"x3,omitempty" protobuf:"varint,23,opt,name=x3" thrift:"23"`
+	X04  int64              `json:"x4,omitempty" protobuf:"varint,24,opt,name=x4" thrift:"24"`
+	X05  int64              `json:"x5,omitempty" protobuf:"varint,25,opt,name=x5" thrift:"25"`
+	X06  int64              `json:"x6,omitempty" protobuf:"varint,26,opt,name=x6" thrift:"26"`
+	X07  int64              `json:"x7,omitempty" protobuf:"varint,27,opt,name=x7" thrift:"27"`
+	X08  int64              `json:"x8,omitempty" protobuf:"varint,28,opt,name=x8" thrift:"28"`
+	X09  int64              `json:"x9,omitempty" protobuf:"varint,29,opt,name=x9" thrift:"29"`
+	X10  int64              `json:"x10,omitempty" protobuf:"varint,30,opt,name=x10" thrift:"30"`
+	X11  int64              `json:"x11,omitempty" protobuf:"varint,31,opt,name=x11" thrift:"31"`
+	X12  int64              `json:"x12,omitempty" protobuf:"varint,32,opt,name=x12" thrift:"32"`
+	X13  int64              `json:"x13,omitempty" protobuf:"varint,33,opt,name=x13" thrift:"33"`
+	X14  int64              `json:"x14,omitempty" protobuf:"varint,34,opt,name=x14" thrift:"34"`
+	X15  int64              `json:"x15,omitempty" protobuf:"varint,35,opt,name=x15" thrift:"35"`
+	X16  int64              `json:"x16,omitempty" protobuf:"varint,36,opt,name=x16" thrift:"36"`
+	X17  int64              `json:"x17,omitempty" protobuf:"varint,37,opt,name=x17" thrift:"37"`
+	X18  int64              `json:"x18,omitempty" protobuf:"varint,38,opt,name=x18" thrift:"38"`
+	X19  int64              `json:"x19,omitempty" protobuf:"varint,39,opt,name=x19" thrift:"39"`
+	X20  int64              `json:"x20,omitempty" protobuf:"varint,40,opt,name=x20" thrift:"40"`
+	X21  int64              `json:"x21,omitempty" protobuf:"varint,41,opt,name=x21" thrift:"41"`
+	X22  int64              `json:"x22,omitempty" protobuf:"varint,42,opt,name=x22" thrift:"42"`
+	X23  int64              `json:"x23,omitempty" protobuf:"varint,43,opt,name=x23" thrift:"43"`
 }
 
 type Peer156 struct {
@@ -2203,11 +6128,36 @@ type Peer156 struct {
 }
 
 type Rec157 struct {
-	V    int64    `json:"v" protobuf:"varint,1,opt,name=v" thrift:"1"`
-	Next *Rec157  `json:"next,omitempty" protobuf:"bytes,2,opt,name=next" thrift:"2"`
-	Kids []Rec157 `json:"kids,omitempty" protobuf:"bytes,3,rep,name=kids" thrift:"3"`
-	Peer *Peer157 `json:"peer,omitempty" protobuf:"bytes,4,opt,name=peer" thrift:"4"`
-	S    string   `json:"s,omitempty" protobuf:"bytes,5,opt,name=s" thrift:"5"`
+	M    map[string]Peer157 `json:"m,omitempty" protobuf:"bytes,6,rep,name=m" protobuf_key:"bytes,1,opt,name=key" protobuf_val:"bytes,2,opt,name=value" thrift:"6"`
+	V    int64              `json:"v" protobuf:"varint,1,opt,name=v" thrift:"1"`
+	Next *Rec157            `json:"next,omitempty" protobuf:"bytes,2,opt,name=next" thrift:"2"`
+	Kids []Rec157           `json:"kids,omitempty" protobuf:"bytes,3,rep,name=kids" thrift:"3"`
+	Peer *Peer157           `json:"peer,omitempty" protobuf:"bytes,4,opt,name=peer" thrift:"4"`
+	S    string             `json:"s,omitempty" protobuf:"bytes,5,opt,name=s" thrift:"5"`
+	X00  int64              `json:"x0,omitempty" protobuf:"varint,20,opt,name=x0" thrift:"20"`
+	X01  int64              `json:"x1,omitempty" protobuf:"varint,21,opt,name=x1" thrift:"21"`
+	X02  int64              `json:"x2,omitempty" protobuf:"varint,22,opt,name=x2" thrift:"22"`
+	X03  int64              `json:"x3,omitempty" protobuf:"varint,23,opt,name=x3" thrift:"23"`
+	X04  int64              `json:"x4,omitempty" protobuf:"varint,24,opt,name=x4" thrift:"24"`
+	X05  int64              `json:"x5,omitempty" protobuf:"varint,25,opt,name=x5" thrift:"25"`
+	X06  int64              `json:"x6,omitempty" protobuf:"varint,26,opt,name=x6" thrift:"26"`
+	X07  int64              `json:"x7,omitempty" protobuf:"varint,27,opt,name=x7" thrift:"27"`
+	X08  int64              `json:"x8,omitempty" protobuf:"varint,28,opt,name=x8" thrift:"28"`
+	X09  int64              `json:"x9,omitempty" protobuf:"varint,29,opt,name=x9" thrift:"29"`
+	X10  int64              `json:"x10,omitempty" protobuf:"varint,30,opt,name=x10" thrift:"30"`
+	X11  int64              `json:"x11,omitempty" protobuf:"varint,31,opt,name=x11" thrift:"31"`
+	X12  int64              `json:"x12,omitempty" protobuf:"varint,32,opt,name=x12" thrift:"32"`
+	X13  int64              `json:"x13,omitempty" protobuf:"varint,33,opt,name=x13" thrift:"33"`
+	X14  int64              `json:"x14,omitempty" protobuf:"varint,34,opt,name=x14" thrift:"34"`
+	X15  int64              `json:"x15,omitempty" protobuf:"varint,35,opt,name=x15" thrift:"35"`
+	X16  int64              `json:"x16,omitempty" protobuf:"varint,36,opt,name=x16" thrift:"36"`
+	X17  int64              `json:"x17,omitempty" protobuf:"varint,37,opt,name=x17" thrift:"37"`
+	X18  int64              `json:"x18,omitempty" protobuf:"varint,38,opt,name=x18" thrift:"38"`
+	X19  int64              `json:"x19,omitempty" protobuf:"varint,39,opt,name=x19" thrift:"39"`
+	X20  int64              `json:"x20,omitempty" protobuf:"varint,40,opt,name=x20" thrift:"40"`
+	X21  int64              `json:"x21,omitempty" protobuf:"varint,41,opt,name=x21" thrift:"41"`
+	X22  int64              `json:"x22,omitempty" protobuf:"varint,42,opt,name=x22" thrift:"42"`
+	X23  int64              `json:"x23,omitempty" protobuf:"varint,43,opt,name=x23" thrift:"43"`
 }
 
 type Peer157 struct {
@@ -2217,11 +6167,36 @@ type Peer157 struct {
 }
 
 type Rec158 struct {
-	V    int64    `json:"v" protobuf:"varint,1,opt,name=v" thrift:"1"`
-	Next *Rec158  `json:"next,omitempty" protobuf:"bytes,2,opt,name=next" thrift:"2"`
-	Kids []Rec158 `json:"kids,omitempty" protobuf:"bytes,3,rep,name=kids" thrift:"3"`
-	Peer *Peer158 `json:"peer,omitempty" protobuf:"bytes,4,opt,name=peer" thrift:"4"`
-	S    string   `json:"s,omitempty" protobuf:"bytes,5,opt,name=s" thrift:"5"`
+	M    map[string]Peer158 `json:"m,omitempty" protobuf:"bytes,6,rep,name=m" protobuf_key:"bytes,1,opt,name=key" protobuf_val:"bytes,2,opt,name=value" thrift:"6"`
+	V    int64              `json:"v" protobuf:"varint,1,opt,name=v" thrift:"1"`
+	Next *Rec158            `json:"next,omitempty" protobuf:"bytes,2,opt,name=next" thrift:"2"`
+	Kids []Rec158           `json:"kids,omitempty" protobuf:"bytes,3,rep,name=kids" thrift:"3"`
+	Peer *Peer158           `json:"peer,omitempty" protobuf:"bytes,4,opt,name=peer" thrift:"4"`
+	S    string             `json:"s,omitempty" protobuf:"bytes,5,opt,name=s" thrift:"5"`
+	X00  int64              `json:"x0,omitempty" protobuf:"varint,20,opt,name=x0" thrift:"20"`
+	X01  int64              `json:"x1,omitempty" protobuf:"varint,21,opt,name=x1" thrift:"21"`
+	X02  int64              `json:"x2,omitempty" protobuf:"varint,22,opt,name=x2" thrift:"22"`
+	X03  int64              `json:"x3,omitempty" protobuf:"varint,23,opt,name=x3" thrift:"23"`
+	X04  int64              `json:"x4,omitempty" protobuf:"varint,24,opt,name=x4" thrift:"24"`
+	X05  int64              `json:"x5,omitempty" protobuf:"varint,25,opt,name=x5" thrift:"25"`
+	X06  int64              `json:"x6,omitempty" protobuf:"varint,26,opt,name=x6" thrift:"26"`
+	X07  int64              `json:"x7,omitempty" protobuf:"varint,27,opt,name=x7" thrift:"27"`
+	X08  int64              `json:"x8,omitempty" protobuf:"varint,28,opt,name=x8" thrift:"28"`
+	X09  int64              `json:"x9,omitempty" protobuf:"varint,29,opt,name=x9" thrift:"29"`
+	X10  int64              `json:"x10,omitempty" protobuf:"varint,30,opt,name=x10" thrift:"30"`
+	X11  int64              `json:"x11,omitempty" protobuf:"varint,31,opt,name=x11" thrift:"31"`
+	X12  int64              `json:"x12,omitempty" protobuf:"varint,32,opt,name=x12" thrift:"32"`
+	X13  int64              `json:"x13,omitempty" protobuf:"varint,33,opt,name=x13" thrift:"33"`
+	X14  int64              `json:"x14,omitempty" protobuf:"varint,34,opt,name=x14" thrift:"34"`
+	X15  int64              `json:"x15,omitempty" protobuf:"varint,35,opt,name=x15" thrift:"35"`
+	X16  int64              `json:"x16,omitempty" protobuf:"varint,36,opt,name=x16" thrift:"36"`
+	X17  int64              `json:"x17,omitempty" protobuf:"varint,37,opt,name=x17" thrift:"37"`
+	X18  int64              `json:"x18,omitempty" protobuf:"varint,38,opt,name=x18" thrift:"38"`
+	X19  int64              `json:"x19,omitempty" protobuf:"varint,39,opt,name=x19" thrift:"39"`
+	X20  int64              `json:"x20,omitempty" protobuf:"varint,40,opt,name=x20" thrift:"40"`
+	X21  int64              `json:"x21,omitempty" protobuf:"varint,41,opt,name=x21" thrift:"41"`
+	X22  int64              `json:"x22,omitempty" protobuf:"varint,42,opt,name=x22" thrift:"42"`
+	X23  int64              `json:"x23,omitempty" protobuf:"varint,43,opt,name=x23" thrift:"43"`
 }
 
 type Peer158 struct {
@@ -2231,11 +6206,36 @@ type Peer158 struct {
 }
 
 type Rec159 struct {
-	V    int64    `json:"v" protobuf:"varint,1,opt,name=v" thrift:"1"`
-	Next *Rec159  `json:"next,omitempty" protobuf:"bytes,2,opt,name=next" thrift:"2"`
-	Kids []Rec159 `json:"kids,omitempty" protobuf:"bytes,3,rep,name=kids" thrift:"3"`
-	Peer *Peer159 `json:"peer,omitempty" protobuf:"bytes,4,opt,name=peer" thrift:"4"`
-	S    string   `json:"s,omitempty" protobuf:"bytes,5,opt,name=s" thrift:"5"`
+	M    map[string]Peer159 `json:"m,omitempty" protobuf:"bytes,6,rep,name=m" protobuf_key:"bytes,1,opt,name=key" protobuf_val:"bytes,2,opt,name=value" thrift:"6"`
+	V    int64              `json:"v" protobuf:"varint,1,opt,name=v" thrift:"1"`
+	Next *Rec159            `json:"next,omitempty" protobuf:"bytes,2,opt,name=next" thrift:"2"`
+	Kids []Rec159           `json:"kids,omitempty" protobuf:"bytes,3,rep,name=kids" thrift:"3"`
+	Peer *Peer159           `json:"peer,omitempty" protobuf:"bytes,4,opt,name=peer" thrift:"4"`
+	S    string             `json:"s,omitempty" protobuf:"bytes,5,opt,name=s" thrift:"5"`
+	X00  int64              `json:"x0,omitempty" protobuf:"varint,20,opt,name=x0" thrift:"20"`
+	X01  int64              `json:"x1,omitempty" protobuf:"varint,21,opt,name=x1" thrift:"21"`
+	X02  int64              `json:"x2,omitempty" protobuf:"varint,22,opt,name=x2" thrift:"22"`
+	X03  int64              `json:"x3,omitempty" protobuf:"varint,23,opt,name=x3" thrift:"23"`
+	X04  int64              `json:"x4,omitempty" protobuf:"varint,24,opt,name=x4" thrift:"24"`
+	X05  int64              `json:"x5,omitempty" protobuf:"varint,25,opt,name=x5" thrift:"25"`
+	X06  int64              `json:"x6,omitempty" protobuf:"varint,26,opt,name=x6" thrift:"26"`
+	X07  int64              `json:"x7,omitempty" protobuf:"varint,27,opt,name=x7" thrift:"27"`
+	X08  int64              `json:"x8,omitempty" protobuf:"varint,28,opt,name=x8" thrift:"28"`
+	X09  int64              `json:"x9,omitempty" protobuf:"varint,29,opt,name=x9" thrift:"29"`
+	X10  int64              `json:"x10,omitempty" protobuf:"varint,30,opt,name=x10" thrift:"30"`
+	X11  int64              `json:"x11,omitempty" protobuf:"varint,31,opt,name=x11" thrift:"31"`
+	X12  int64              `json:"x12,omitempty" protobuf:"varint,32,opt,name=x12" thrift:"32"`
+	X13  int64              `json:"x13,omitempty" protobuf:"varint,33,opt,name=x13" thrift:"33"`
+	X14  int64              `json:"x14,omitempty" protobuf:"varint,34,opt,name=x14" thrift:"34"`
+	X15  int64              `json:"x15,omitempty" protobuf:"varint,35,opt,name=x15" thrift:"35"`
+	X16  int64              `json:"x16,omitempty" protobuf:"varint,36,opt,name=x16" thrift:"36"`
+	X17  int64              `json:"x17,omitempty" protobuf:"varint,37,opt,name=x17" thrift:"37"`
+	X18  int64              `json:"x18,omitempty" protobuf:"varint,38,opt,name=x18" thrift:"38"`
+	X19  int64              `json:"x19,omitempty" protobuf:"varint,39,opt,name=x19" thrift:"39"`
+	X20  int64              `json:"x20,omitempty" protobuf:"varint,40,opt,name=x20" thrift:"40"`
+	X21  int64              `json:"x21,omitempty" protobuf:"varint,41,opt,name=x21" thrift:"41"`
+	X22  int64              `json:"x22,omitempty" protobuf:"varint,42,opt,name=x22" thrift:"42"`
+	X23  int64              `json:"x23,omitempty" protobuf:"varint,43,opt,name=x23" thrift:"43"`
 }
 
 type Peer159 struct {
@@ -2245,11 +6245,36 @@ type Peer159 struct {
 }
 
 type Rec160 struct {
-	V    int64    `json:"v" protobuf:"varint,1,opt,name=v" thrift:"1"`
-	Next *Rec160  `json:"next,omitempty" protobuf:"bytes,2,opt,name=next" thrift:"2"`
-	Kids []Rec160 `json:"kids,omitempty" protobuf:"bytes,3,rep,name=kids" thrift:"3"`
-	Peer *Peer160 `json:"peer,omitempty" protobuf:"bytes,4,opt,name=peer" thrift:"4"`
-	S    string   `json:"s,omitempty" protobuf:"bytes,5,opt,name=s" thrift:"5"`
+	M    map[string]Peer160 `json:"m,omitempty" protobuf:"bytes,6,rep,name=m" protobuf_key:"bytes,1,opt,name=key" protobuf_val:"bytes,2,opt,name=value" thrift:"6"`
+	V    int64              `json:"v" protobuf:"varint,1,opt,name=v" thrift:"1"`
+	Next *Rec160            `json:"next,omitempty" protobuf:"bytes,2,opt,name=next" thrift:"2"`
+	Kids []Rec160           `json:"kids,omitempty" protobuf:"bytes,3,rep,name=kids" thrift:"3"`
+	Peer *Peer160           `json:"peer,omitempty" protobuf:"bytes,4,opt,name=peer" thrift:"4"`
+	S    string             `json:"s,omitempty" protobuf:"bytes,5,opt,name=s" thrift:"5"`
+	X00  int64              `json:"x0,omitempty" protobuf:"varint,20,opt,name=x0" thrift:"20"`
+	X01  int64              `json:"x1,omitempty" protobuf:"varint,21,opt,name=x1" thrift:"21"`
+	X02  int64              `json:"x2,omitempty" protobuf:"varint,22,opt,name=x2" thrift:"22"`
+	X03  int64              `json:"x3,omitempty" protobuf:"varint,23,opt,name=x3" thrift:"23"`
+	X04  int64              `json:"x4,omitempty" protobuf:"varint,24,opt,name=x4" thrift:"24"`
+	X05  int64              `json:"x5,omitempty" protobuf:"varint,25,opt,name=x5" thrift:"25"`
+	X06  int64              `json:"x6,omitempty" protobuf:"varint,26,opt,name=x6" thrift:"26"`
+	X07  int64              `json:"x7,omitempty" protobuf:"varint,27,opt,name=x7" thrift:"27"`
+	X08  int64              `json:"x8,omitempty" protobuf:"varint,28,opt,name=x8" thrift:"28"`
+	X09  int64              `json:"x9,omitempty" protobuf:"varint,29,opt,name=x9" thrift:"29"`
+	X10  int64              `json:"x10,omitempty" protobuf:"varint,30,opt,name=x10" thrift:"30"`
+	X11  int64              `json:"x11,omitempty" protobuf:"varint,31,opt,name=x11" thrift:"31"`
+	X12  int64              `json:"x12,omitempty" protobuf:"varint,32,opt,name=x12" thrift:"32"`
+	X13  int64              `json:"x13,omitempty" protobuf:"varint,33,opt,name=x13" thrift:"33"`
+	X14  int64              `json:"x14,omitempty" protobuf:"varint,34,opt,name=x14" thrift:"34"`
+	X15  int64              `json:"x15,omitempty" protobuf:"varint,35,opt,name=x15" thrift:"35"`
+	X16  int64              `json:"x16,omitempty" protobuf:"varint,36,opt,name=x16" thrift:"36"`
+	X17  int64              `json:"x17,omitempty" protobuf:"varint,37,opt,name=x17" thrift:"37"`
+	X18  int64              `json:"x18,omitempty" protobuf:"varint,38,opt,name=x18" thrift:"38"`
+	X19  int64              `json:"x19,omitempty" protobuf:"varint,39,opt,name=x19" thrift:"39"`
+	X20  int64              `json:"x20,omitempty" protobuf:"varint,40,opt,name=x20" thrift:"40"`
+	X21  int64              `json:"x21,omitempty" protobuf:"varint,41,opt,name=x21" thrift:"41"`
+	X22  int64              `json:"x22,omitempty" protobuf:"varint,42,opt,name=x22" thrift:"42"`
+	X23  int64              `json:"x23,omitempty" protobuf:"varint,43,opt,name=x23" thrift:"43"`
 }
 
 type Peer160 struct {
@@ -2259,11 +6284,36 @@ type Peer160 struct {
 }
 
 type Rec161 struct {
-	V    int64    `json:"v" protobuf:"varint,1,opt,name=v" thrift:"1"`
-	Next *Rec161  `json:"next,omitempty" protobuf:"bytes,2,opt,name=next" thrift:"2"`
-	Kids []Rec161 `json:"kids,omitempty" protobuf:"bytes,3,rep,name=kids" thrift:"3"`
-	Peer *Peer161 `json:"peer,omitempty" protobuf:"bytes,4,opt,name=peer" thrift:"4"`
-	S    string   `json:"s,omitempty" protobuf:"bytes,5,opt,name=s" thrift:"5"`
+	M    map[string]Peer161 `json:"m,omitempty" protobuf:"bytes,6,rep,name=m" protobuf_key:"bytes,1,opt,name=key" protobuf_val:"bytes,2,opt,name=value" thrift:"6"`
+	V    int64              `json:"v" protobuf:"varint,1,opt,name=v" thrift:"1"`
+	Next *Rec161            `json:"next,omitempty" protobuf:"bytes,2,opt,name=next" thrift:"2"`
+	Kids []Rec161           `json:"kids,omitempty" protobuf:"bytes,3,rep,name=kids" thrift:"3"`
+	Peer *Peer161           `json:"peer,omitempty" protobuf:"bytes,4,opt,name=peer" thrift:"4"`
+	S    string             `json:"s,omitempty" protobuf:"bytes,5,opt,name=s" thrift:"5"`
+	X00  int64              `json:"x0,omitempty" protobuf:"varint,20,opt,name=x0" thrift:"20"`
+	X01  int64              `json:"x1,omitempty" protobuf:"varint,21,opt,name=x1" thrift:"21"`
+	X02  int64              `json:"x2,omitempty" protobuf:"varint,22,opt,name=x2" thrift:"22"`
+	X03  int64              `json:"x3,omitempty" protobuf:"varint,23,opt,name=x3" thrift:"23"`
+	X04  int64              `json:"x4,omitempty" protobuf:"varint,24,opt,name=x4" thrift:"24"`
+	X05  int64              `json:"x5,omitempty" protobuf:"varint,25,opt,name=x5" thrift:"25"`
+	X06  int64              `json:"x6,omitempty" protobuf:"varint,26,opt,name=x6" thrift:"26"`
+	X07  int64              `json:"x7,omitempty" protobuf:"varint,27,opt,name=x7" thrift:"27"`
+	X08  int64              `json:"x8,omitempty" protobuf:"varint,28,opt,name=x8" thrift:"28"`
+	X09  int64              `json:"x9,omitempty" protobuf:"varint,29,opt,name=x9" thrift:"29"`
+	X10  int64              `json:"x10,omitempty" protobuf:"varint,30,opt,name=x10" thrift:"30"`
+	X11  int64              `json:"x11,omitempty" protobuf:"varint,31,opt,name=x11" thrift:"31"`
+	X12  int64              `json:"x12,omitempty" protobuf:"varint,32,opt,name=x12" thrift:"32"`
+	X13  int64              `json:"x13,omitempty" protobuf:"varint,33,opt,name=x13" thrift:"33"`
+	X14  int64              `json:"x14,omitempty" protobuf:"varint,34,opt,name=x14" thrift:"34"`
+	X15  int64              `json:"x15,omitempty" protobuf:"varint,35,opt,name=x15" thrift:"35"`
+	X16  int64              `json:"x16,omitempty" protobuf:"varint,36,opt,name=x16" thrift:"36"`
+	X17  int64              `json:"x17,omitempty" protobuf:"varint,37,opt,name=x17" thrift:"37"`
+	X18  int64              `json:"x18,omitempty" protobuf:"varint,38,opt,name=x18" thrift:"38"`
+	X19  int64              `json:"x19,omitempty" protobuf:"varint,39,opt,name=x19" thrift:"39"`
+	X20  int64              `json:"x20,omitempty" protobuf:"varint,40,opt,name=x20" thrift:"40"`
+	X21  int64              `json:"x21,omitempty" protobuf:"varint,41,opt,name=x21" thrift:"41"`
+	X22  int64              `json:"x22,omitempty" protobuf:"varint,42,opt,name=x22" thrift:"42"`
+	X23  int64              `json:"x23,omitempty" protobuf:"varint,43,opt,name=x23" thrift:"43"`
 }
 
 type Peer161 struct {
@@ -2273,11 +6323,36 @@ type Peer161 struct {
 }
 
 type Rec162 struct {
-	V    int64    `json:"v" protobuf:"varint,1,opt,name=v" thrift:"1"`
-	Next *Rec162  `json:"next,omitempty" protobuf:"bytes,2,opt,name=next" thrift:"2"`
-	Kids []Rec162 `json:"kids,omitempty" protobuf:"bytes,3,rep,name=kids" thrift:"3"`
-	Peer *Peer162 `json:"peer,omitempty" protobuf:"bytes,4,opt,name=peer" thrift:"4"`
-	S    string   `json:"s,omitempty" protobuf:"bytes,5,opt,name=s" thrift:"5"`
+	M    map[string]Peer162 `json:"m,omitempty" protobuf:"bytes,6,rep,name=m" protobuf_key:"bytes,1,opt,name=key" protobuf_val:"bytes,2,opt,name=value" thrift:"6"`
+	V    int64              `json:"v" protobuf:"varint,1,opt,name=v" thrift:"1"`
+	Next *Rec162            `json:"next,omitempty" protobuf:"bytes,2,opt,name=next" thrift:"2"`
+	Kids []Rec162           `json:"kids,omitempty" protobuf:"bytes,3,rep,name=kids" thrift:"3"`
+	Peer *Peer162           `json:"peer,omitempty" protobuf:"bytes,4,opt,name=peer" thrift:"4"`
+	S    string             `json:"s,omitempty" protobuf:"bytes,5,opt,name=s" thrift:"5"`
+	X00  int64              `json:"x0,omitempty" protobuf:"varint,20,opt,name=x0" thrift:"20"`
+	X01  int64              `json:"x1,omitempty" protobuf:"varint,21,opt,name=x1" thrift:"21"`
+	X02  int64              `json:"x2,omitempty" protobuf:"varint,22,opt,name=x2" thrift:"22"`
+	X03  int64              `json:"x3,omitempty" protobuf:"varint,23,opt,name=x3" thrift:"23"`
+	X04  int64              `json:"x4,omitempty" protobuf:"varint,24,opt,name=x4" thrift:"24"`
+	X05  int64              `json:"x5,omitempty" protobuf:"varint,25,opt,name=x5" thrift:"25"`
+	X06  int64              `json:"x6,omitempty" protobuf:"varint,26,opt,name=x6" thrift:"26"`
+	X07  int64              `json:"x7,omitempty" protobuf:"varint,27,opt,name=x7" thrift:"27"`
+	X08  int64              `json:"x8,omitempty" protobuf:"varint,28,opt,name=x8" thrift:"28"`
+	X09  int64              `json:"x9,omitempty" protobuf:"varint,29,opt,name=x9" thrift:"29"`
+	X10  int64              `json:"x10,omitempty" protobuf:"varint,30,opt,name=x10" thrift:"30"`
+	X11  int64              `json:"x11,omitempty" protobuf:"varint,31,opt,name=x11" thrift:"31"`
+	X12  int64              `json:"x12,omitempty" protobuf:"varint,32,opt,name=x12" thrift:"32"`
+	X13  int64              `json:"x13,omitempty" protobuf:"varint,33,opt,name=x13" thrift:"33"`
+	X14  int64              `json:"x14,omitempty" protobuf:"varint,34,opt,name=x14" thrift:"34"`
+	X15  int64              `json:"x15,omitempty" protobuf:"varint,35,opt,name=x15" thrift:"35"`
+	X16  int64              `json:"x16,omitempty" protobuf:"varint,36,opt,name=x16" thrift:"36"`
+	X17  int64              `json:"x17,omitempty" protobuf:"varint,37,opt,name=x17" thrift:"37"`
+	X18  int64              `json:"x18,omitempty" protobuf:"varint,38,opt,name=x18" thrift:"38"`
+	X19  int64              `json:"x19,omitempty" protobuf:"varint,39,opt,name=x19" thrift:"39"`
+	X20  int64              `json:"x20,omitempty" protobuf:"varint,40,opt,name=x20" thrift:"40"`
+	X21  int64              `json:"x21,omitempty" protobuf:"varint,41,opt,name=x21" thrift:"41"`
+	X22  int64              `json:"x22,omitempty" protobuf:"varint,42,opt,name=x22" thrift:"42"`
+	X23  int64              `json:"x23,omitempty" protobuf:"varint,43,opt,name=x23" thrift:"43"`
 }
 
 type Peer162 struct {
@@ -2287,11 +6362,36 @@ type Peer162 struct {
 }
 
 type Rec163 struct {
-	V    int64    `json:"v" protobuf:"varint,1,opt,name=v" thrift:"1"`
-	Next *Rec163  `json:"next,omitempty" protobuf:"bytes,2,opt,name=next" thrift:"2"`
-	Kids []Rec163 `json:"kids,omitempty" protobuf:"bytes,3,rep,name=kids" thrift:"3"`
-	Peer *Peer163 `json:"peer,omitempty" protobuf:"bytes,4,opt,name=peer" thrift:"4"`
-	S    string   `json:"s,omitempty" protobuf:"bytes,5,opt,name=s" thrift:"5"`
+	M    map[string]Peer163 `json:"m,omitempty" protobuf:"bytes,6,rep,name=m" protobuf_key:"bytes,1,opt,name=key" protobuf_val:"bytes,2,opt,name=value" thrift:"6"`
+	V    int64              `json:"v" protobuf:"varint,1,opt,name=v" thrift:"1"`
+	Next *Rec163            `json:"next,omitempty" protobuf:"bytes,2,opt,name=next" thrift:"2"`
+	Kids []Rec163           `json:"kids,omitempty" protobuf:"bytes,3,rep,name=kids" thrift:"3"`
+	Peer *Peer163           `json:"peer,omitempty" protobuf:"bytes,4,opt,name=peer" thrift:"4"`
+	S    string             `json:"s,omitempty" protobuf:"bytes,5,opt,name=s" thrift:"5"`
+	X00  int64              `json:"x0,omitempty" protobuf:"varint,20,opt,name=x0" thrift:"20"`
+	X01  int64              `json:"x1,omitempty" protobuf:"varint,21,opt,name=x1" thrift:"21"`
+	X02  int64              `json:"x2,omitempty" protobuf:"varint,22,opt,name=x2" thrift:"22"`
+	X03  int64              `json:"x3,omitempty" protobuf:"varint,23,opt,name=x3" thrift:"23"`
+	X04  int64              `json:"x4,omitempty" protobuf:"varint,24,opt,name=x4" thrift:"24"`
+	X05  int64              `json:"x5,omitempty" protobuf:"varint,25,opt,name=x5" thrift:"25"`
+	X06  int64              `json:"x6,omitempty" protobuf:"varint,26,opt,name=x6" thrift:"26"`
+	X07  int64              `json:"x7,omitempty" protobuf:"varint,27,opt,name=x7" thrift:"27"`
+	X08  int64              `json:"x8,omitempty" protobuf:"varint,28,opt,name=x8" thrift:"28"`
+	X09  int64              `json:"x9,omitempty" protobuf:"varint,29,opt,name=x9" thrift:"29"`
+	X10  int64              `json:"x10,omitempty" protobuf:"varint,30,opt,name=x10" thrift:"30"`
+	X11  int64              `json:"x11,omitempty" protobuf:"varint,31,opt,name=x11" thrift:"31"`
+	X12  int64              `json:"x12,omitempty" protobuf:"varint,32,opt,name=x12" thrift:"32"`
+	X13  int64              `json:"x13,omitempty" protobuf:"varint,33,opt,name=x13" thrift:"33"`
+	X14  int64              `json:"x14,omitempty" protobuf:"varint,34,opt,name=x14" thrift:"34"`
+	X15  int64              `json:"x15,omitempty" protobuf:"varint,35,opt,name=x15" thrift:"35"`
+	X16  int64              `json:"x16,omitempty" protobuf:"varint,36,opt,name=x16" thrift:"36"`
+	X17  int64              `json:"x17,omitempty" protobuf:"varint,37,opt,name=x17" thrift:"37"`
+	X18  int64              `json:"x18,omitempty" protobuf:"varint,38,opt,name=x18" thrift:"38"`
+	X19  int64              `json:"x19,omitempty" protobuf:"varint,39,opt,name=x19" thrift:"39"`
+	X20  int64              `json:"x20,omitempty" protobuf:"varint,40,opt,name=x20" thrift:"40"`
+	X21  int64              `json:"x21,omitempty" protobuf:"varint,41,opt,name=x21" thrift:"41"`
+	X22  int64              `json:"x22,omitempty" protobuf:"varint,42,opt,name=x22" thrift:"42"`
+	X23  int64              `json:"x23,omitempty" protobuf:"varint,43,opt,name=x23" thrift:"43"`
 }
 
 type Peer163 struct {
@@ -2301,11 +6401,36 @@ type Peer163 struct {
 }
 
 type Rec164 struct {
-	V    int64    `json:"v" protobuf:"varint,1,opt,name=v" thrift:"1"`
-	Next *Rec164  `json:"next,omitempty" protobuf:"bytes,2,opt,name=next" thrift:"2"`
-	Kids []Rec164 `json:"kids,omitempty" protobuf:"bytes,3,rep,name=kids" thrift:"3"`
-	Peer *Peer164 `json:"peer,omitempty" protobuf:"bytes,4,opt,name=peer" thrift:"4"`
-	S    string   `json:"s,omitempty" protobuf:"bytes,5,opt,name=s" thrift:"5"`
+	M    map[string]Peer164 `json:"m,omitempty" protobuf:"bytes,6,rep,name=m" protobuf_key:"bytes,1,opt,name=key" protobuf_val:"bytes,2,opt,name=value" thrift:"6"`
+	V    int64              `json:"v" protobuf:"varint,1,opt,name=v" thrift:"1"`
+	Next *Rec164            `json:"next,omitempty" protobuf:"bytes,2,opt,name=next" thrift:"2"`
+	Kids []Rec164           `json:"kids,omitempty" protobuf:"bytes,3,rep,name=kids" thrift:"3"`
+	Peer *Peer164           `json:"peer,omitempty" protobuf:"bytes,4,opt,name=peer" thrift:"4"`
+	S    string             `json:"s,omitempty" protobuf:"bytes,5,opt,name=s" thrift:"5"`
+	X00  int64              `json:"x0,omitempty" protobuf:"varint,20,opt,name=x0" thrift:"20"`
+	X01  int64              `json:"x1,omitempty" protobuf:"varint,21,opt,name=x1" thrift:"21"`
+	X02  int64              `json:"x2,omitempty" protobuf:"varint,22,opt,name=x2" thrift:"22"`
+	X03  int64              `json:"x3,omitempty" protobuf:"varint,23,opt,name=x3" thrift:"23"`
+	X04  int64              `json:"x4,omitempty" protobuf:"varint,24,opt,name=x4" thrift:"24"`
+	X05  int64              `json:"x5,omitempty" protobuf:"varint,25,opt,name=x5" thrift:"25"`
+	X06  int64              `json:"x6,omitempty" protobuf:"varint,26,opt,name=x6" thrift:"26"`
+	X07  int64              `json:"x7,omitempty" protobuf:"varint,27,opt,name=x7" thrift:"27"`
+	X08  int64              `json:"x8,omitempty" protobuf:"varint,28,opt,name=x8" thrift:"28"`
+	X09  int64              `json:"x9,omitempty" protobuf:"varint,29,opt,name=x9" thrift:"29"`
+	X10  int64              `json:"x10,omitempty" protobuf:"varint,30,opt,name=x10" thrift:"30"`
+	X11  int64              `json:"x11,omitempty" protobuf:"varint,31,opt,name=x11" thrift:"31"`
+	X12  int64              `json:"x12,omitempty" protobuf:"varint,32,opt,name=x12" thrift:"32"`
+	X13  int64              `json:"x13,omitempty" protobuf:"varint,33,opt,name=x13" thrift:"33"`
+	X14  int64              `json:"x14,omitempty" protobuf:"varint,34,opt,name=x14" thrift:"34"`
+	X15  int64              `json:"x15,omitempty" protobuf:"varint,35,opt,name=x15" thrift:"35"`
+	X16  int64              `json:"x16,omitempty" protobuf:"varint,36,opt,name=x16" thrift:"36"`
+	X17  int64              `json:"x17,omitempty" protobuf:"varint,37,opt,name=x17" thrift:"37"`
+	X18  int64              `json:"x18,omitempty" protobuf:"varint,38,opt,name=x18" thrift:"38"`
+	X19  int64              `json:"x19,omitempty" protobuf:"varint,39,opt,name=x19" thrift:"39"`
+	X20  int64              `json:"x20,omitempty" protobuf:"varint,40,opt,name=x20" thrift:"40"`
+	X21  int64              `json:"x21,omitempty" protobuf:"varint,41,opt,name=x21" thrift:"41"`
+	X22  int64              `json:"x22,omitempty" protobuf:"varint,42,opt,name=x22" thrift:"42"`
+	X23  int64              `json:"x23,omitempty" protobuf:"varint,43,opt,name=x23" thrift:"43"`
 }
 
 type Peer164 struct {
@@ -2315,11 +6440,36 @@ type Peer164 struct {
 }
 
 type Rec165 struct {
-	V    int64    `json:"v" protobuf:"varint,1,opt,name=v" thrift:"1"`
-	Next *Rec165  `json:"next,omitempty" protobuf:"bytes,2,opt,name=next" thrift:"2"`
-	Kids []Rec165 `json:"kids,omitempty" protobuf:"bytes,3,rep,name=kids" thrift:"3"`
-	Peer *Peer165 `json:"peer,omitempty" protobuf:"bytes,4,opt,name=peer" thrift:"4"`
-	S    string   `json:"s,omitempty" protobuf:"bytes,5,opt,name=s" thrift:"5"`
+	M    map[string]Peer165 `json:"m,omitempty" protobuf:"bytes,6,rep,name=m" protobuf_key:"bytes,1,opt,name=key" protobuf_val:"bytes,2,opt,name=value" thrift:"6"`
+	V    int64              `json:"v" protobuf:"varint,1,opt,name=v" thrift:"1"`
+	Next *Rec165            `json:"next,omitempty" protobuf:"bytes,2,opt,name=next" thrift:"2"`
+	Kids []Rec165           `json:"kids,omitempty" protobuf:"bytes,3,rep,name=kids" thrift:"3"`
+	Peer *Peer165           `json:"peer,omitempty" protobuf:"bytes,4,opt,name=peer" thrift:"4"`
+	S    string             `json:"s,omitempty" protobuf:"bytes,5,opt,name=s" thrift:"5"`
+	X00  int64              `json:"x0,omitempty" protobuf:"varint,20,opt,name=x0" thrift:"20"`
+	X01  int64              `json:"x1,omitempty" protobuf:"varint,21,opt,name=x1" thrift:"21"`
+	X02  int64              `json:"x2,omitempty" protobuf:"varint,22,opt,name=x2" thrift:"22"`
+	X03  int64              `json:"x3,omitempty" protobuf:"varint,23,opt,name=x3" thrift:"23"`
+	X04  int64              `json:"x4,omitempty" protobuf:"varint,24,opt,name=x4" thrift:"24"`
+	X05  int64              `json:"x5,omitempty" protobuf:"varint,25,opt,name=x5" thrift:"25"`
+	X06  int64              `json:"x6,omitempty" protobuf:"varint,26,opt,name=x6" thrift:"26"`
+	X07  int64              `json:"x7,omitempty" protobuf:"varint,27,opt,name=x7" thrift:"27"`
+	X08  int64              `json:"x8,omitempty" protobuf:"varint,28,opt,name=x8" thrift:"28"`
+	X09  int64              `json:"x9,omitempty" protobuf:"varint,29,opt,name=x9" thrift:"29"`
+	X10  int64              `json:"x10,omitempty" protobuf:"varint,30,opt,name=x10" thrift:"30"`
+	X11  int64              `json:"x11,omitempty" protobuf:"varint,31,opt,name=x11" thrift:"31"`
+	X12  int64              `json:"x12,omitempty" protobuf:"varint,32,opt,name=x12" thrift:"32"`
+	X13  int64              `json:"x13,omitempty" protobuf:"varint,33,opt,name=x13" thrift:"33"`
+	X14  int64              `json:"x14,omitempty" protobuf:"varint,34,opt,name=x14" thrift:"34"`
+	X15  int64              `json:"x15,omitempty" protobuf:"varint,35,opt,name=x15" thrift:"35"`
+	X16  int64              `json:"x16,omitempty" protobuf:"varint,36,opt,name=x16" thrift:"36"`
+	X17  int64              `json:"x17,omitempty" protobuf:"varint,37,opt,name=x17" thrift:"37"`
+	X18  int64              `json:"x18,omitempty" protobuf:"varint,38,opt,name=x18" thrift:"38"`
+	X19  int64              `json:"x19,omitempty" protobuf:"varint,39,opt,name=x19" thrift:"39"`
+	X20  int64              `json:"x20,omitempty" protobuf:"varint,40,opt,name=x20" thrift:"40"`
+	X21  int64              `json:"x21,omitempty" protobuf:"varint,41,opt,name=x21" thrift:"41"`
+	X22  int64              `json:"x22,omitempty" protobuf:"varint,42,opt,name=x22" thrift:"42"`
+	X23  int64              `json:"x23,omitempty" protobuf:"varint,43,opt,name=x23" thrift:"43"`
 }
 
 type Peer165 struct {
@@ -2329,11 +6479,36 @@ type Peer165 struct {
 }
 
 type Rec166 struct {
-	V    int64    `json:"v" protobuf:"varint,1,opt,name=v" thrift:"1"`
-	Next *Rec166  `json:"next,omitempty" protobuf:"bytes,2,opt,name=next" thrift:"2"`
-	Kids []Rec166 `json:"kids,omitempty" protobuf:"bytes,3,rep,name=kids" thrift:"3"`
-	Peer *Peer166 `json:"peer,omitempty" protobuf:"bytes,4,opt,name=peer" thrift:"4"`
-	S    string   `json:"s,omitempty" protobuf:"bytes,5,opt,name=s" thrift:"5"`
+	M    map[string]Peer166 `json:"m,omitempty" protobuf:"bytes,6,rep,name=m" protobuf_key:"bytes,1,opt,name=key" protobuf_val:"bytes,2,opt,name=value" thrift:"6"`
+	V    int64              `json:"v" protobuf:"varint,1,opt,name=v" thrift:"1"`
+	Next *Rec166            `json:"next,omitempty" protobuf:"bytes,2,opt,name=next" thrift:"2"`
+	Kids []Rec166           `json:"kids,omitempty" protobuf:"bytes,3,rep,name=kids" thrift:"3"`
+	Peer *Peer166           `json:"peer,omitempty" protobuf:"bytes,4,opt,name=peer" thrift:"4"`
+	S    string             `json:"s,omitempty" protobuf:"bytes,5,opt,name=s" thrift:"5"`
+	X00  int64              `json:"x0,omitempty" protobuf:"varint,20,opt,name=x0" thrift:"20"`
+	X01  int64              `json:"x1,omitempty" protobuf:"varint,21,opt,name=x1" thrift:"21"`
+	X02  int64              `json:"x2,omitempty" protobuf:"varint,22,opt,name=x2" thrift:"22"`
+	X03  int64              `json:"x3,omitempty" protobuf:"varint,23,opt,name=x3" thrift:"23"`
+	X04  int64              `json:"x4,omitempty" protobuf:"varint,24,opt,name=x4" thrift:"24"`
+	X05  int64              `json:"x5,omitempty" protobuf:"varint,25,opt,name=x5" thrift:"25"`
+	X06  int64              `json:"x6,omitempty" protobuf:"varint,26,opt,name=x6" thrift:"26"`
+	X07  int64              `json:"x7,omitempty" protobuf:"varint,27,opt,name=x7" thrift:"27"`
+	X08  int64              `json:"x8,omitempty" protobuf:"varint,28,opt,name=x8" thrift:"28"`
+	X09  int64              `json:"x9,omitempty" protobuf:"varint,29,opt,name=x9" thrift:"29"`
+	X10  int64              `json:"x10,omitempty" protobuf:"varint,30,opt,name=x10" thrift:"30"`
+	X11  int64              `json:"x11,omitempty" protobuf:"varint,31,opt,name=x11" thrift:"31"`
+	X12  int64              `json:"x12,omitempty" protobuf:"varint,32,opt,name=x12" thrift:"32"`
+	X13  int64              `json:"x13,omitempty" protobuf:"varint,33,opt,name=x13" thrift:"33"`
+	X14  int64              `json:"x14,omitempty" protobuf:"varint,34,opt,name=x14" thrift:"34"`
+	X15  int64              `json:"x15,omitempty" protobuf:"varint,35,opt,name=x15" thrift:"35"`
+	X16  int64              `json:"x16,omitempty" protobuf:"varint,36,opt,name=x16" thrift:"36"`
+	X17  int64              `json:"x17,omitempty" protobuf:"varint,37,opt,name=x17" thrift:"37"`
+	X18  int64              `json:"x18,omitempty" protobuf:"varint,38,opt,name=x18" thrift:"38"`
+	X19  int64              `json:"x19,omitempty" protobuf:"varint,39,opt,name=x19" thrift:"39"`
+	X20  int64              `json:"x20,omitempty" protobuf:"varint,40,opt,name=x20" thrift:"40"`
+	X21  int64              `json:"x21,omitempty" protobuf:"varint,41,opt,name=x21" thrift:"41"`
+	X22  int64              `json:"x22,omitempty" protobuf:"varint,42,opt,name=x22" thrift:"42"`
+	X23  int64              `json:"x23,omitempty" protobuf:"varint,43,opt,name=x23" thrift:"43"`
 }
 
 type Peer166 struct {
@@ -2343,11 +6518,36 @@ type Peer166 struct {
 }
 
 type Rec167 struct {
-	V    int64    `json:"v" protobuf:"varint,1,opt,name=v" thrift:"1"`
-	Next *Rec167  `json:"next,omitempty" protobuf:"bytes,2,opt,name=next" thrift:"2"`
-	Kids []Rec167 `json:"kids,omitempty" protobuf:"bytes,3,rep,name=kids" thrift:"3"`
-	Peer *Peer167 `json:"peer,omitempty" protobuf:"bytes,4,opt,name=peer" thrift:"4"`
-	S    string   `json:"s,omitempty" protobuf:"bytes,5,opt,name=s" thrift:"5"`
+	M    map[string]Peer167 `json:"m,omitempty" protobuf:"bytes,6,rep,name=m" protobuf_key:"bytes,1,opt,name=key" protobuf_val:"bytes,2,opt,name=value" thrift:"6"`
+	V    int64              `json:"v" protobuf:"varint,1,opt,name=v" thrift:"1"`
+	Next *Rec167            `json:"next,omitempty" protobuf:"bytes,2,opt,name=next" thrift:"2"`
+	Kids []Rec167           `json:"kids,omitempty" protobuf:"bytes,3,rep,name=kids" thrift:"3"`
+	Peer *Peer167           `json:"peer,omitempty" protobuf:"bytes,4,opt,name=peer" thrift:"4"`
+	S    string             `json:"s,omitempty" protobuf:"bytes,5,opt,name=s" thrift:"5"`
+	X00  int64              `json:"x0,omitempty" protobuf:"varint,20,opt,name=x0" thrift:"20"`
+	X01  int64              `json:"x1,omitempty" protobuf:"varint,21,opt,name=x1" thrift:"21"`
+	X02  int64              `json:"x2,omitempty" protobuf:"varint,22,opt,name=x2" thrift:"22"`
+	X03  int64              `json:"x3,omitempty" protobuf:"varint,23,opt,name=x3" thrift:"23"`
+	X04  int64              `json:"x4,omitempty" protobuf:"varint,24,opt,name=x4" thrift:"24"`
+	X05  int64              `json:"x5,omitempty" protobuf:"varint,25,opt,name=x5" thrift:"25"`
+	X06  int64              `json:"x6,omitempty" protobuf:"varint,26,opt,name=x6" thrift:"26"`
+	X07  int64              `json:"x7,omitempty" protobuf:"varint,27,opt,name=x7" thrift:"27"`
+	X08  int64              `json:"x8,omitempty" protobuf:"varint,28,opt,name=x8" thrift:"28"`
+	X09  int64              `json:"x9,omitempty" protobuf:"varint,29,opt,name=x9" thrift:"29"`
+	X10  int64              `json:"x10,omitempty" protobuf:"varint,30,opt,name=x10" thrift:"30"`
+	X11  int64              `json:"x11,omitempty" protobuf:"varint,31,opt,name=x11" thrift:"31"`
+	X12  int64              `json:"x12,omitempty" protobuf:"varint,32,opt,name=x12" thrift:"32"`
+	X13  int64              `json:"x13,omitempty" protobuf:"varint,33,opt,name=x13" thrift:"33"`
+	X14  int64              `json:"x14,omitempty" protobuf:"varint,34,opt,name=x14" thrift:"34"`
+	X15  int64              `json:"x15,omitempty" protobuf:"varint,35,opt,name=x15" thrift:"35"`
+	X16  int64              `json:"x16,omitempty" protobuf:"varint,36,opt,name=x16" thrift:"36"`
+	X17  int64              `json:"x17,omitempty" protobuf:"varint,37,opt,name=x17" thrift:"37"`
+	X18  int64              `json:"x18,omitempty" protobuf:"varint,38,opt,name=x18" thrift:"38"`
+	X19  int64              `json:"x19,omitempty" protobuf:"varint,39,opt,name=x19" thrift:"39"`
+	X20  int64              `json:"x20,omitempty" protobuf:"varint,40,opt,name=x20" thrift:"40"`
+	X21  int64              `json:"x21,omitempty" protobuf:"varint,41,opt,name=x21" thrift:"41"`
+	X22  int64              `json:"x22,omitempty" protobuf:"varint,42,opt,name=x22" thrift:"42"`
+	X23  int64              `json:"x23,omitempty" protobuf:"varint,43,opt,name=x23" thrift:"43"`
 }
 
 type Peer167 struct {
@@ -2357,11 +6557,36 @@ type Peer167 struct {
 }
 
 type Rec168 struct {
-	V    int64    `json:"v" protobuf:"varint,1,opt,name=v" thrift:"1"`
-	Next *Rec168  `json:"next,omitempty" protobuf:"bytes,2,opt,name=next" thrift:"2"`
-	Kids []Rec168 `json:"kids,omitempty" protobuf:"bytes,3,rep,name=kids" thrift:"3"`
-	Peer *Peer168 `json:"peer,omitempty" protobuf:"bytes,4,opt,name=peer" thrift:"4"`
-	S    string   `json:"s,omitempty" protobuf:"bytes,5,opt,name=s" thrift:"5"`
+	M    map[string]Peer168 `json:"m,omitempty" protobuf:"bytes,6,rep,name=m" protobuf_key:"bytes,1,opt,name=key" protobuf_val:"bytes,2,opt,name=value" thrift:"6"`
+	V    int64              `json:"v" protobuf:"varint,1,opt,name=v" thrift:"1"`
+	Next *Rec168            `json:"next,omitempty" protobuf:"bytes,2,opt,name=next" thrift:"2"`
+	Kids []Rec168           `json:"kids,omitempty" protobuf:"bytes,3,rep,name=kids" thrift:"3"`
+	Peer *Peer168           `json:"peer,omitempty" protobuf:"bytes,4,opt,name=peer" thrift:"4"`
+	S    string             `json:"s,omitempty" protobuf:"bytes,5,opt,name=s" thrift:"5"`
+	X00  int64              `json:"x0,omitempty" protobuf:"varint,20,opt,name=x0" thrift:"20"`
+	X01  int64              `json:"x1,omitempty" protobuf:"varint,21,opt,name=x1" thrift:"21"`
+	X02  int64              `json:"x2,omitempty" protobuf:"varint,22,opt,name=x2" thrift:"22"`
+	X03  int64              `json:"x3,omitempty" protobuf:"varint,23,opt,name=x3" thrift:"23"`
+	X04  int64              `json:"x4,omitempty" protobuf:"varint,24,opt,name=x4" thrift:"24"`
+	X05  int64              `json:"x5,omitempty" protobuf:"varint,25,opt,name=x5" thrift:"25"`
+	X06  int64              `json:"x6,omitempty" protobuf:"varint,26,opt,name=x6" thrift:"26"`
+	X07  int64              `json:"x7,omitempty" protobuf:"varint,27,opt,name=x7" thrift:"27"`
+	X08  int64              `json:"x8,omitempty" protobuf:"varint,28,opt,name=x8" thrift:"28"`
+	X09  int64              `json:"x9,omitempty" protobuf:"varint,29,opt,name=x9" thrift:"29"`
+	X10  int64              `json:"x10,omitempty" protobuf:"varint,30,opt,name=x10" thrift:"30"`
+	X11  int64              `json:"x11,omitempty" protobuf:"varint,31,opt,name=x11" thrift:"31"`
+	X12  int64              `json:"x12,omitempty" protobuf:"varint,32,opt,name=x12" thrift:"32"`
+	X13  int64              `json:"x13,omitempty" protobuf:"varint,33,opt,name=x13" thrift:"33"`
+	X14  int64              `json:"x14,omitempty" protobuf:"varint,34,opt,name=x14" thrift:"34"`
+	X15  int64              `json:"x15,omitempty" protobuf:"varint,35,opt,name=x15" thrift:"35"`
+	X16  int64              `json:"x16,omitempty" protobuf:"varint,36,opt,name=x16" thrift:"36"`
+	X17  int64              `json:"x17,omitempty" protobuf:"varint,37,opt,name=x17" thrift:"37"`
+	X18  int64              `json:"x18,omitempty" protobuf:"varint,38,opt,name=x18" thrift:"38"`
+	X19  int64              `json:"x19,omitempty" protobuf:"varint,39,opt,name=x19" thrift:"39"`
+	X20  int64              `json:"x20,omitempty" protobuf:"varint,40,opt,name=x20" thrift:"40"`
+	X21  int64              `json:"x21,omitempty" protobuf:"varint,41,opt,name=x21" thrift:"41"`
+	X22  int64              `json:"x22,omitempty" protobuf:"varint,42,opt,name=x22" thrift:"42"`
+	X23  int64              `json:"x23,omitempty" protobuf:"varint,43,opt,name=x23" thrift:"43"`
 }
 
 type Peer168 struct {
@@ -2371,11 +6596,36 @@ type Peer168 struct {
 }
 
 type Rec169 struct {
-	V    int64    `json:"v" protobuf:"varint,1,opt,name=v" thrift:"1"`
-	Next *Rec169  `json:"next,omitempty" protobuf:"bytes,2,opt,name=next" thrift:"2"`
-	Kids []Rec169 `json:"kids,omitempty" protobuf:"bytes,3,rep,name=kids" thrift:"3"`
-	Peer *Peer169 `json:"peer,omitempty" protobuf:"bytes,4,opt,name=peer" thrift:"4"`
-	S    string   `json:"s,omitempty" protobuf:"bytes,5,opt,name=s" thrift:"5"`
+	M    map[string]Peer169 `json:"m,omitempty" protobuf:"bytes,6,rep,name=m" protobuf_key:"bytes,1,opt,name=key" protobuf_val:"bytes,2,opt,name=value" thrift:"6"`
+	V    int64              `json:"v" protobuf:"varint,1,opt,name=v" thrift:"1"`
+	Next *Rec169            `json:"next,omitempty" protobuf:"bytes,2,opt,name=next" thrift:"2"`
+	Kids []Rec169           `json:"kids,omitempty" protobuf:"bytes,3,rep,name=kids" thrift:"3"`
+	Peer *Peer169           `json:"peer,omitempty" protobuf:"bytes,4,opt,name=peer" thrift:"4"`
+	S    string             `json:"s,omitempty" protobuf:"bytes,5,opt,name=s" thrift:"5"`
+	X00  int64              `json:"x0,omitempty" protobuf:"varint,20,opt,name=x0" thrift:"20"`
+	X01  int64              `json:"x1,omitempty" protobuf:"varint,21,opt,name=x1" thrift:"21"`
+	X02  int64              `json:"x2,omitempty" protobuf:"varint,22,opt,name=x2" thrift:"22"`
+	X03  int64              `json:"x3,omitempty" protobuf:"varint,23,opt,name=x3" thrift:"23"`
+	X04  int64              `json:"x4,omitempty" protobuf:"varint,24,opt,name=x4" thrift:"24"`
+	X05  int64              `json:"x5,omitempty" protobuf:"varint,25,opt,name=x5" thrift:"25"`
+	X06  int64              `json:"x6,omitempty" protobuf:"varint,26,opt,name=x6" thrift:"26"`
+	X07  int64              `json:"x7,omitempty" protobuf:"varint,27,opt,name=x7" thrift:"27"`
+	X08  int64              `json:"x8,omitempty" protobuf:"varint,28,opt,name=x8" thrift:"28"`
+	X09  int64              `json:"x9,omitempty" protobuf:"varint,29,opt,name=x9" thrift:"29"`
+	X10  int64              `json:"x10,omitempty" protobuf:"varint,30,opt,name=x10" thrift:"30"`
+	X11  int64              `json:"x11,omitempty" protobuf:"varint,31,opt,name=x11" thrift:"31"`
+	X12  int64              `json:"x12,omitempty" protobuf:"varint,32,opt,name=x12" thrift:"32"`
+	X13  int64              `json:"x13,omitempty" protobuf:"varint,33,opt,name=x13" thrift:"33"`
+	X14  int64              `json:"x14,omitempty" protobuf:"varint,34,opt,name=x14" thrift:"34"`
+	X15  int64              `json:"x15,omitempty" protobuf:"varint,35,opt,name=x15" thrift:"35"`
+	X16  int64              `json:"x16,omitempty" protobuf:"varint,36,opt,name=x16" thrift:"36"`
+	X17  int64              `json:"x17,omitempty" protobuf:"varint,37,opt,name=x17" thrift:"37"`
+	X18  int64              `json:"x18,omitempty" protobuf:"varint,38,opt,name=x18" thrift:"38"`
+	X19  int64              `json:"x19,omitempty" protobuf:"varint,39,opt,name=x19" thrift:"39"`
+	X20  int64              `json:"x20,omitempty" protobuf:"varint,40,opt,name=x20" thrift:"40"`
+	X21  int64              `json:"x21,omitempty" protobuf:"varint,41,opt,name=x21" thrift:"41"`
+	X22  int64              `json:"x22,omitempty" protobuf:"varint,42,opt,name=x22" thrift:"42"`
+	X23  int64              `json:"x23,omitempty" protobuf:"varint,43,opt,name=x23" thrift:"43"`
 }
 
 type Peer169 struct {
@@ -2385,11 +6635,36 @@ type Peer169 struct {
 }
 
 type Rec170 struct {
-	V    int64    `json:"v" protobuf:"varint,1,opt,name=v" thrift:"1"`
-	Next *Rec170  `json:"next,omitempty" protobuf:"bytes,2,opt,name=next" thrift:"2"`
-	Kids []Rec170 `json:"kids,omitempty" protobuf:"bytes,3,rep,name=kids" thrift:"3"`
-	Peer *Peer170 `json:"peer,omitempty" protobuf:"bytes,4,opt,name=peer" thrift:"4"`
-	S    string   `json:"s,omitempty" protobuf:"bytes,5,opt,name=s" thrift:"5"`
+	M    map[string]Peer170 `json:"m,omitempty" protobuf:"bytes,6,rep,name=m" protobuf_key:"bytes,1,opt,name=key" protobuf_val:"bytes,2,opt,name=value" thrift:"6"`
+	V    int64              `json:"v" protobuf:"varint,1,opt,name=v" thrift:"1"`
+	Next *Rec170            `json:"next,omitempty" protobuf:"bytes,2,opt,name=next" thrift:"2"`
+	Kids []Rec170           `json:"kids,omitempty" protobuf:"bytes,3,rep,name=kids" thrift:"3"`
+	Peer *Peer170           `json:"peer,omitempty" protobuf:"bytes,4,opt,name=peer" thrift:"4"`
+	S    string             `json:"s,omitempty" protobuf:"bytes,5,opt,name=s" thrift:"5"`
+	X00  int64              `json:"x0,omitempty" protobuf:"varint,20,opt,name=x0" thrift:"20"`
+	X01  int64              `json:"x1,omitempty" protobuf:"varint,21,opt,name=x1" thrift:"21"`
+	X02  int64              `json:"x2,omitempty" protobuf:"varint,22,opt,name=x2" thrift:"22"`
+	X03  int64              `json:"x3,omitempty" protobuf:"varint,23,opt,name=x3" thrift:"23"`
+	X04  int64              `json:"x4,omitempty" protobuf:"varint,24,opt,name=x4" thrift:"24"`
+	X05  int64              `json:"x5,omitempty" protobuf:"varint,25,opt,name=x5" thrift:"25"`
+	X06  int64              `json:"x6,omitempty" protobuf:"varint,26,opt,name=x6" thrift:"26"`
+	X07  int64              `json:"x7,omitempty" protobuf:"varint,27,opt,name=x7" thrift:"27"`
+	X08  int64              `json:"x8,omitempty" protobuf:"varint,28,opt,name=x8" thrift:"28"`
+	X09  int64              `json:"x9,omitempty" protobuf:"varint,29,opt,name=x9" thrift:"29"`
+	X10  int64              `json:"x10,omitempty" protobuf:"varint,30,opt,name=x10" thrift:"30"`
+	X11  int64              `json:"x11,omitempty" protobuf:"varint,31,opt,name=x11" thrift:"31"`
+	X12  int64              `json:"x12,omitempty" protobuf:"varint,32,opt,name=x12" thrift:"32"`
+	X13  int64              `json:"x13,omitempty" protobuf:"varint,33,opt,name=x13" thrift:"33"`
+	X14  int64              `json:"x14,omitempty" protobuf:"varint,34,opt,name=x14" thrift:"34"`
+	X15  int64              `json:"x15,omitempty" protobuf:"varint,35,opt,name=x15" thrift:"35"`
+	X16  int64              `json:"x16,omitempty" protobuf:"varint,36,opt,name=x16" thrift:"36"`
+	X17  int64              `json:"x17,omitempty" protobuf:"varint,37,opt,name=x17" thrift:"37"`
+	X18  int64              `json:"x18,omitempty" protobuf:"varint,38,opt,name=x18" thrift:"38"`
+	X19  int64              `json:"x19,omitempty" protobuf:"varint,39,opt,name=x19" thrift:"39"`
+	X20  int64              `json:"x20,omitempty" protobuf:"varint,40,opt,name=x20" thrift:"40"`
+	X21  int64              `json:"x21,omitempty" protobuf:"varint,41,opt,name=x21" thrift:"41"`
+	X22  int64              `json:"x22,omitempty" protobuf:"varint,42,opt,name=x22" thrift:"42"`
+	X23  int64              `json:"x23,omitempty" protobuf:"varint,43,opt,name=x23" thrift:"43"`
 }
 
 type Peer170 struct {
@@ -2399,11 +6674,36 @@ type Peer170 struct {
 }
 
 type Rec171 struct {
-	V    int64    `json:"v" protobuf:"varint,1,opt,name=v" thrift:"1"`
-	Next *Rec171  `json:"next,omitempty" protobuf:"bytes,2,opt,name=next" thrift:"2"`
-	Kids []Rec171 `json:"kids,omitempty" protobuf:"bytes,3,rep,name=kids" thrift:"3"`
-	Peer *Peer171 `json:"peer,omitempty" protobuf:"bytes,4,opt,name=peer" thrift:"4"`
-	S    string   `json:"s,omitempty" protobuf:"bytes,5,opt,name=s" thrift:"5"`
+	M    map[string]Peer171 `json:"m,omitempty" protobuf:"bytes,6,rep,name=m" protobuf_key:"bytes,1,opt,name=key" protobuf_val:"bytes,2,opt,name=value" thrift:"6"`
+	V    int64              `json:"v" protobuf:"varint,1,opt,name=v" thrift:"1"`
+	Next *Rec171            `json:"next,omitempty" protobuf:"bytes,2,opt,name=next" thrift:"2"`
+	Kids []Rec171           `json:"kids,omitempty" protobuf:"bytes,3,rep,name=kids" thrift:"3"`
+	Peer *Peer171           `json:"peer,omitempty" protobuf:"bytes,4,opt,name=peer" thrift:"4"`
+	S    string             `json:"s,omitempty" protobuf:"bytes,5,opt,name=s" thrift:"5"`
+	X00  int64              `json:"x0,omitempty" protobuf:"varint,20,opt,name=x0" thrift:"20"`
+	X01  int64              `json:"x1,omitempty" protobuf:"varint,21,opt,name=x1" thrift:"21"`
+	X02  int64              `json:"x2,omitempty" protobuf:"varint,22,opt,name=x2" thrift:"22"`
+	X03  int64              `json:"x3,omitempty" protobuf:"varint,23,opt,name=x3" thrift:"23"`
+	X04  int64              `json:"x4,omitempty" protobuf:"varint,24,opt,name=x4" thrift:"24"`
+	X05  int64              `json:"x5,omitempty" protobuf:"varint,25,opt,name=x5" thrift:"25"`
+	X06  int64              `json:"x6,omitempty" protobuf:"varint,26,opt,name=x6" thrift:"26"`
+	X07  int64              `json:"x7,omitempty" protobuf:"varint,27,opt,name=x7" thrift:"27"`
+	X08  int64              `json:"x8,omitempty" protobuf:"varint,28,opt,name=x8" thrift:"28"`
+	X09  int64              `json:"x9,omitempty" protobuf:"varint,29,opt,name=x9" thrift:"29"`
+	X10  int64              `json:"x10,omitempty" protobuf:"varint,30,opt,name=x10" thrift:"30"`
+	X11  int64              `json:"x11,omitempty" protobuf:"varint,31,opt,name=x11" thrift:"31"`
+	X12  int64              `json:"x12,omitempty" protobuf:"varint,32,opt,name=x12" thrift:"32"`
+	X13  int64              `json:"x13,omitempty" protobuf:"varint,33,opt,name=x13" thrift:"33"`
+	X14  int64              `json:"x14,omitempty" protobuf:"varint,34,opt,name=x14" thrift:"34"`
+	X15  int64              `json:"x15,omitempty" protobuf:"varint,35,opt,name=x15" thrift:"35"`
+	X16  int64              `json:"x16,omitempty" protobuf:"varint,36,opt,name=x16" thrift:"36"`
+	X17  int64              `json:"x17,omitempty" protobuf:"varint,37,opt,name=x17" thrift:"37"`
+	X18  int64              `json:"x18,omitempty" protobuf:"varint,38,opt,name=x18" thrift:"38"`
+	X19  int64              `json:"x19,omitempty" protobuf:"varint,39,opt,name=x19" thrift:"39"`
+	X20  int64              `json:"x20,omitempty" protobuf:"varint,40,opt,name=x20" thrift:"40"`
+	X21  int64              `json:"x21,omitempty" protobuf:"varint,41,opt,name=x21" thrift:"41"`
+	X22  int64              `json:"x22,omitempty" protobuf:"varint,42,opt,name=x22" thrift:"42"`
+	X23  int64              `json:"x23,omitempty" protobuf:"varint,43,opt,name=x23" thrift:"43"`
 }
 
 type Peer171 struct {
@@ -2413,11 +6713,36 @@ type Peer171 struct {
 }
 
 type Rec172 struct {
-	V    int64    `json:"v" protobuf:"varint,1,opt,name=v" thrift:"1"`
-	Next *Rec172  `json:"next,omitempty" protobuf:"bytes,2,opt,name=next" thrift:"2"`
-	Kids []Rec172 `json:"kids,omitempty" protobuf:"bytes,3,rep,name=kids" thrift:"3"`
-	Peer *Peer172 `json:"peer,omitempty" protobuf:"bytes,4,opt,name=peer" thrift:"4"`
-	S    string   `json:"s,omitempty" protobuf:"bytes,5,opt,name=s" thrift:"5"`
+	M    map[string]Peer172 `json:"m,omitempty" protobuf:"bytes,6,rep,name=m" protobuf_key:"bytes,1,opt,name=key" protobuf_val:"bytes,2,opt,name=value" thrift:"6"`
+	V    int64              `json:"v" protobuf:"varint,1,opt,name=v" thrift:"1"`
+	Next *Rec172            `json:"next,omitempty" protobuf:"bytes,2,opt,name=next" thrift:"2"`
+	Kids []Rec172           `json:"kids,omitempty" protobuf:"bytes,3,rep,name=kids" thrift:"3"`
+	Peer *Peer172           `json:"peer,omitempty" protobuf:"bytes,4,opt,name=peer" thrift:"4"`
+	S    string             `json:"s,omitempty" protobuf:"bytes,5,opt,name=s" thrift:"5"`
+	X00  int64              `json:"x0,omitempty" protobuf:"varint,20,opt,name=x0" thrift:"20"`
+	X01  int64              `json:"x1,omitempty" protobuf:"varint,21,opt,name=x1" thrift:"21"`
+	X02  int64              `json:"x2,omitempty" protobuf:"varint,22,opt,name=x2" thrift:"22"`
+	X03  int64              `json:"x3,omitempty" protobuf:"varint,23,opt,name=x3" thrift:"23"`
+	X04  int64              `json:"x4,omitempty" protobuf:"varint,24,opt,name=x4" thrift:"24"`
+	X05  int64              `json:"x5,omitempty" protobuf:"varint,25,opt,name=x5" thrift:"25"`
+	X06  int64              `json:"x6,omitempty" protobuf:"varint,26,opt,name=x6" thrift:"26"`
+	X07  int64              `json:"x7,omitempty" protobuf:"varint,27,opt,name=x7" thrift:"27"`
+	X08  int64              `json:"x8,omitempty" protobuf:"varint,28,opt,name=x8" thrift:"28"`
+	X09  int64              `json:"x9,omitempty" protobuf:"varint,29,opt,name=x9" thrift:"29"`
+	X10  int64              `json:"x10,omitempty" protobuf:"varint,30,opt,name=x10" thrift:"30"`
+	X11  int64              `json:"x11,omitempty" protobuf:"varint,31,opt,name=x11" thrift:"31"`
+	X12  int64              `json:"x12,omitempty" protobuf:"varint,32,opt,name=x12" thrift:"32"`
+	X13  int64              `json:"x13,omitempty" protobuf:"varint,33,opt,name=x13" thrift:"33"`
+	X14  int64              `json:"x14,omitempty" protobuf:"varint,34,opt,name=x14" thrift:"34"`
+	X15  int64              `json:"x15,omitempty" protobuf:"varint,35,opt,name=x15" thrift:"35"`
+	X16  int64              `json:"x16,omitempty" protobuf:"varint,36,opt,name=x16" thrift:"36"`
+	X17  int64              `json:"x17,omitempty" protobuf:"varint,37,opt,name=x17" thrift:"37"`
+	X18  int64              `json:"x18,omitempty" protobuf:"varint,38,opt,name=x18" thrift:"38"`
+	X19  int64              `json:"x19,omitempty" protobuf:"varint,39,opt,name=x19" thrift:"39"`
+	X20  int64              `json:"x20,omitempty" protobuf:"varint,40,opt,name=x20" thrift:"40"`
+	X21  int64              `json:"x21,omitempty" protobuf:"varint,41,opt,name=x21" thrift:"41"`
+	X22  int64              `json:"x22,omitempty" protobuf:"varint,42,opt,name=x22" thrift:"42"`
+	X23  int64              `json:"x23,omitempty" protobuf:"varint,43,opt,name=x23" thrift:"43"`
 }
 
 type Peer172 struct {
@@ -2427,11 +6752,36 @@ type Peer172 struct {
 }
 
 type Rec173 struct {
-	V    int64    `json:"v" protobuf:"varint,1,opt,name=v" thrift:"1"`
-	Next *Rec173  `json:"next,omitempty" protobuf:"bytes,2,opt,name=next" thrift:"2"`
-	Kids []Rec173 `json:"kids,omitempty" protobuf:"bytes,3,rep,name=kids" thrift:"3"`
-	Peer *Peer173 `json:"peer,omitempty" protobuf:"bytes,4,opt,name=peer" thrift:"4"`
-	S    string   `json:"s,omitempty" protobuf:"bytes,5,opt,name=s" thrift:"5"`
+	M    map[string]Peer173 `json:"m,omitempty" protobuf:"bytes,6,rep,name=m" protobuf_key:"bytes,1,opt,name=key" protobuf_val:"bytes,2,opt,name=value" thrift:"6"`
+	V    int64              `json:"v" protobuf:"varint,1,opt,name=v" thrift:"1"`
+	Next *Rec173            `json:"next,omitempty" protobuf:"bytes,2,opt,name=next" thrift:"2"`
+	Kids []Rec173           `json:"kids,omitempty" protobuf:"bytes,3,rep,name=kids" thrift:"3"`
+	Peer *Peer173           `json:"peer,omitempty" protobuf:"bytes,4,opt,name=peer" thrift:"4"`
+	S    string             `json:"s,omitempty" protobuf:"bytes,5,opt,name=s" thrift:"5"`
+	X00  int64              `json:"x0,omitempty" protobuf:"varint,20,opt,name=x0" thrift:"20"`
+	X01  int64              `json:"x1,omitempty" protobuf:"varint,21,opt,name=x1" thrift:"21"`
+	X02  int64              `json:"x2,omitempty" protobuf:"varint,22,opt,name=x2" thrift:"22"`
+	X03  int64              `json:"x3,omitempty" protobuf:"varint,23,opt,name=x3" thrift:"23"`
+	X04  int64              `json:"x4,omitempty" protobuf:"varint,24,opt,name=x4" thrift:"24"`
+	X05  int64              `json:"x5,omitempty" protobuf:"varint,25,opt,name=x5" thrift:"25"`
+	X06  int64              `json:"x6,omitempty" protobuf:"varint,26,opt,name=x6" thrift:"26"`
+	X07  int64              `json:"x7,omitempty" protobuf:"varint,27,opt,name=x7" thrift:"27"`
+	X08  int64              `json:"x8,omitempty" protobuf:"varint,28,opt,name=x8" thrift:"28"`
+	X09  int64              `json:"x9,omitempty" protobuf:"varint,29,opt,name=x9" thrift:"29"`
+	X10  int64              `json:"x10,omitempty" protobuf:"varint,30,opt,name=x10" thrift:"30"`
+	X11  int64              `json:"x11,omitempty" protobuf:"varint,31,opt,name=x11" thrift:"31"`
+	X12  int64              `json:"x12,omitempty" protobuf:"varint,32,opt,name=x12" thrift:"32"`
+	X13  int64              `json:"x13,omitempty" protobuf:"varint,33,opt,name=x13" thrift:"33"`
+	X14  int64              `json:"x14,omitempty" protobuf:"varint,34,opt,name=x14" thrift:"34"`
+	X15  int64              `json:"x15,omitempty" protobuf:"varint,35,opt,name=x15" thrift:"35"`
+	X16  int64              `json:"x16,omitempty" protobuf:"varint,36,opt,name=x16" thrift:"36"`
+	X17  int64              `json:"x17,omitempty" protobuf:"varint,37,opt,name=x17" thrift:"37"`
+	X18  int64              `json:"x18,omitempty" protobuf:"varint,38,opt,name=x18" thrift:"38"`
+	X19  int64              `json:"x19,omitempty" protobuf:"varint,39,opt,name=x19" thrift:"39"`
+	X20  int64              `json:"x20,omitempty" protobuf:"varint,40,opt,name=x20" thrift:"40"`
+	X21  int64              `json:"x21,omitempty" protobuf:"varint,41,opt,name=x21" thrift:"41"`
+	X22  int64              `json:"x22,omitempty" protobuf:"varint,42,opt,name=x22" thrift:"42"`
+	X23  int64              `json:"x23,omitempty" protobuf:"varint,43,opt,name=x23" thrift:"43"`
 }
 
 type Peer173 struct {
@@ -2441,11 +6791,36 @@ type Peer173 struct {
 }
 
 type Rec174 struct {
-	V    int64    `json:"v" protobuf:"varint,1,opt,name=v" thrift:"1"`
-	Next *Rec174  `json:"next,omitempty" protobuf:"bytes,2,opt,name=next" thrift:"2"`
-	Kids []Rec174 `json:"kids,omitempty" protobuf:"bytes,3,rep,name=kids" thrift:"3"`
-	Peer *Peer174 `json:"peer,omitempty" protobuf:"bytes,4,opt,name=peer" thrift:"4"`
-	S    string   `json:"s,omitempty" protobuf:"bytes,5,opt,name=s" thrift:"5"`
+	M    map[string]Peer174 `json:"m,omitempty" protobuf:"bytes,6,rep,name=m" protobuf_key:"bytes,1,opt,name=key" protobuf_val:"bytes,2,opt,name=value" thrift:"6"`
+	V    int64              `json:"v" protobuf:"varint,1,opt,name=v" thrift:"1"`
+	Next *Rec174            `json:"next,omitempty" protobuf:"bytes,2,opt,name=next" thrift:"2"`
+	Kids []Rec174           `json:"kids,omitempty" protobuf:"bytes,3,rep,name=kids" thrift:"3"`
+	Peer *Peer174           `json:"peer,omitempty" protobuf:"bytes,4,opt,name=peer" thrift:"4"`
+	S    string             `json:"s,omitempty" protobuf:"bytes,5,opt,name=s" thrift:"5"`
+	X00  int64              `json:"x0,omitempty" protobuf:"varint,20,opt,name=x0" thrift:"20"`
+	X01  int64              `json:"x1,omitempty" protobuf:"varint,21,opt,name=x1" thrift:"21"`
+	X02  int64              `json:"x2,omitempty" protobuf:"varint,22,opt,name=x2" thrift:"22"`
+	X03  int64              `json:"x3,omitempty" protobuf:"varint,23,opt,name=x3" thrift:"23"`
+	X04  int64              `json:"x4,omitempty" protobuf:"varint,24,opt,name=x4" thrift:"24"`
+	X05  int64              `json:"x5,omitempty" protobuf:"varint,25,opt,name=x5" thrift:"25"`
+	X06  int64              `json:"x6,omitempty" protobuf:"varint,26,opt,name=x6" thrift:"26"`
+	X07  int64              `json:"x7,omitempty" protobuf:"varint,27,opt,name=x7" thrift:"27"`
+	X08  int64              `json:"x8,omitempty" protobuf:"varint,28,opt,name=x8" thrift:"28"`
+	X09  int64              `json:"x9,omitempty" protobuf:"varint,29,opt,name=x9" thrift:"29"`
+	X10  int64              `json:"x10,omitempty" protobuf:"varint,30,opt,name=x10" thrift:"30"`
+	X11  int64              `json:"x11,omitempty" protobuf:"varint,31,opt,name=x11" thrift:"31"`
+	X12  int64              `json:"x12,omitempty" protobuf:"varint,32,opt,name=x12" thrift:"32"`
+	X13  int64              `json:"x13,omitempty" protobuf:"varint,33,opt,name=x13" thrift:"33"`
+	X14  int64              `json:"x14,omitempty" protobuf:"varint,34,opt,name=x14" thrift:"34"`
+	X15  int64              `json:"x15,omitempty" protobuf:"varint,35,opt,name=x15" thrift:"35"`
+	X16  int64              `json:"x16,omitempty" protobuf:"varint,36,opt,name=x16" thrift:"36"`
+	X17  int64              `json:"x17,omitempty" protobuf:"varint,37,opt,name=x17" thrift:"37"`
+	X18  int64              `json:"x18,omitempty" protobuf:"varint,38,opt,name=x18" thrift:"38"`
+	X19  int64              `json:"x19,omitempty" protobuf:"varint,39,opt,name=x19" thrift:"39"`
+	X20  int64              `json:"x20,omitempty" protobuf:"varint,40,opt,name=x20" thrift:"40"`
+	X21  int64              `json:"x21,omitempty" protobuf:"varint,41,opt,name=x21" thrift:"41"`
+	X22  int64              `json:"x22,omitempty" protobuf:"varint,42,opt,name=x22" thrift:"42"`
+	X23  int64              `json:"x23,omitempty" protobuf:"varint,43,opt,name=x23" thrift:"43"`
 }
 
 type Peer174 struct {
@@ -2455,11 +6830,36 @@ type Peer174 struct {
 }
 
 type Rec175 struct {
-	V    int64    `json:"v" protobuf:"varint,1,opt,name=v" thrift:"1"`
-	Next *Rec175  `json:"next,omitempty" protobuf:"bytes,2,opt,name=next" thrift:"2"`
-	Kids []Rec175 `json:"kids,omitempty" protobuf:"bytes,3,rep,name=kids" thrift:"3"`
-	Peer *Peer175 `json:"peer,omitempty" protobuf:"bytes,4,opt,name=peer" thrift:"4"`
-	S    string   `json:"s,omitempty" protobuf:"bytes,5,opt,name=s" thrift:"5"`
+	M    map[string]Peer175 `json:"m,omitempty" protobuf:"bytes,6,rep,name=m" protobuf_key:"bytes,1,opt,name=key" protobuf_val:"bytes,2,opt,name=value" thrift:"6"`
+	V    int64              `json:"v" protobuf:"varint,1,opt,name=v" thrift:"1"`
+	Next *Rec175            `json:"next,omitempty" protobuf:"bytes,2,opt,name=next" thrift:"2"`
+	Kids []Rec175           `json:"kids,omitempty" protobuf:"bytes,3,rep,name=kids" thrift:"3"`
+	Peer *Peer175           `json:"peer,omitempty" protobuf:"bytes,4,opt,name=peer" thrift:"4"`
+	S    string             `json:"s,omitempty" protobuf:"bytes,5,opt,name=s" thrift:"5"`
+	X00  int64              `json:"x0,omitempty" protobuf:"varint,20,opt,name=x0" thrift:"20"`
+	X01  int64              `json:"x1,omitempty" protobuf:"varint,21,opt,name=x1" thrift:"21"`
+	X02  int64              `json:"x2,omitempty" protobuf:"varint,22,opt,name=x2" thrift:"22"`
+	X03  int64              `json:"x3,omitempty" protobuf:"varint,23,opt,name=x3" thrift:"23"`
+	X04  int64              `json:"x4,omitempty" protobuf:"varint,24,opt,name=x4" thrift:"24"`
+	X05  int64              `json:"x5,omitempty" protobuf:"varint,25,opt,name=x5" thrift:"25"`
+	X06  int64              `json:"x6,omitempty" protobuf:"varint,26,opt,name=x6" thrift:"26"`
+	X07  int64              `json:"x7,omitempty" protobuf:"varint,27,opt,name=x7" thrift:"27"`
+	X08  int64              `json:"x8,omitempty" protobuf:"varint,28,opt,name=x8" thrift:"28"`
+	X09  int64              `json:"x9,omitempty" protobuf:"varint,29,opt,name=x9" thrift:"29"`
+	X10  int64              `json:"x10,omitempty" protobuf:"varint,30,opt,name=x10" thrift:"30"`
+	X11  int64              `json:"x11,omitempty" protobuf:"varint,31,opt,name=x11" thrift:"31"`
+	X12  int64              `json:"x12,omitempty" protobuf:"varint,32,opt,name=x12" thrift:"32"`
+	X13  int64              `json:"x13,omitempty" protobuf:"varint,33,opt,name=x13" thrift:"33"`
+	X14  int64              `json:"x14,omitempty" protobuf:"varint,34,opt,name=x14" thrift:"34"`
+	X15  int64              `json:"x15,omitempty" protobuf:"varint,35,opt,name=x15" thrift:"35"`
+	X16  int64              `json:"x16,omitempty" protobuf:"varint,36,opt,name=x16" thrift:"36"`
+	X17  int64              `json:"x17,omitempty" protobuf:"varint,37,opt,name=x17" thrift:"37"`
+	X18  int64              `json:"x18,omitempty" protobuf:"varint,38,opt,name=x18" thrift:"38"`
+	X19  int64              `json:"x19,omitempty" protobuf:"varint,39,opt,name=x19" thrift:"39"`
+	X20  int64              `json:"x20,omitempty" protobuf:"varint,40,opt,name=x20" thrift:"40"`
+	X21  int64              `json:"x21,omitempty" protobuf:"varint,41,opt,name=x21" thrift:"41"`
+	X22  int64              `json:"x22,omitempty" protobuf:"varint,42,opt,name=x22" thrift:"42"`
+	X23  int64              `json:"x23,omitempty" protobuf:"varint,43,opt,name=x23" thrift:"43"`
 }
 
 type Peer175 struct {
@@ -2469,11 +6869,36 @@ type Peer175 struct {
 }
 
 type Rec176 struct {
-	V    int64    `json:"v" protobuf:"varint,1,opt,name=v" thrift:"1"`
-	Next *Rec176  `json:"next,omitempty" protobuf:"bytes,2,opt,name=next" thrift:"2"`
-	Kids []Rec176 `json:"kids,omitempty" protobuf:"bytes,3,rep,name=kids" thrift:"3"`
-	Peer *Peer176 `json:"peer,omitempty" protobuf:"bytes,4,opt,name=peer" thrift:"4"`
-	S    string   `json:"s,omitempty" protobuf:"bytes,5,opt,name=s" thrift:"5"`
+	M    map[string]Peer176 `json:"m,omitempty" protobuf:"bytes,6,rep,name=m" protobuf_key:"bytes,1,opt,name=key" protobuf_val:"bytes,2,opt,name=value" thrift:"6"`
+	V    int64              `json:"v" protobuf:"varint,1,opt,name=v" thrift:"1"`
+	Next *Rec176            `json:"next,omitempty" protobuf:"bytes,2,opt,name=next" thrift:"2"`
+	Kids []Rec176           `json:"kids,omitempty" protobuf:"bytes,3,rep,name=kids" thrift:"3"`
+	Peer *Peer176           `json:"peer,omitempty" protobuf:"bytes,4,opt,name=peer" thrift:"4"`
+	S    string             `json:"s,omitempty" protobuf:"bytes,5,opt,name=s" thrift:"5"`
+	X00  int64              `json:"x0,omitempty" protobuf:"varint,20,opt,name=x0" thrift:"20"`
+	X01  int64              `json:"x1,omitempty" protobuf:"varint,21,opt,name=x1" thrift:"21"`
+	X02  int64              `json:"x2,omitempty" protobuf:"varint,22,opt,name=x2" thrift:"22"`
+	X03  int64              `json:"x3,omitempty" protobuf:"varint,23,opt,name=x3" thrift:"23"`
+	X04  int64              `json:"x4,omitempty" protobuf:"varint,24,opt,name=x4" thrift:"24"`
+	X05  int64              `json:"x5,omitempty" protobuf:"varint,25,opt,name=x5" thrift:"25"`
+	X06  int64              `json:"x6,omitempty" protobuf:"varint,26,opt,name=x6" thrift:"26"`
+	X07  int64              `json:"x7,omitempty" protobuf:"varint,27,opt,name=x7" thrift:"27"`
+	X08  int64              `json:"x8,omitempty" protobuf:"varint,28,opt,name=x8" thrift:"28"`
+	X09  int64              `json:"x9,omitempty" protobuf:"varint,29,opt,name=x9" thrift:"29"`
+	X10  int64              `json:"x10,omitempty" protobuf:"varint,30,opt,name=x10" thrift:"30"`
+	X11  int64              `json:"x11,omitempty" protobuf:"varint,31,opt,name=x11" thrift:"31"`
+	X12  int64              `json:"x12,omitempty" protobuf:"varint,32,opt,name=x12" thrift:"32"`
+	X13  int64              `json:"x13,omitempty" protobuf:"varint,33,opt,name=x13" thrift:"33"`
+	X14  int64              `json:"x14,omitempty" protobuf:"varint,34,opt,name=x14" thrift:"34"`
+	X15  int64              `json:"x15,omitempty" protobuf:"varint,35,opt,name=x15" thrift:"35"`
+	X16  int64              `json:"x16,omitempty" protobuf:"varint,36,opt,name=x16" thrift:"36"`
+	X17  int64              `json:"x17,omitempty" protobuf:"varint,37,opt,name=x17" thrift:"37"`
+	X18  int64              `json:"x18,omitempty" protobuf:"varint,38,opt,name=x18" thrift:"38"`
+	X19  int64              `json:"x19,omitempty" protobuf:"varint,39,opt,name=x19" thrift:"39"`
+	X20  int64              `json:"x20,omitempty" protobuf:"varint,40,opt,name=x20" thrift:"40"`
+	X21  int64              `json:"x21,omitempty" protobuf:"varint,41,opt,name=x21" thrift:"41"`
+	X22  int64              `json:"x22,omitempty" protobuf:"varint,42,opt,name=x22" thrift:"42"`
+	X23  int64              `json:"x23,omitempty" protobuf:"varint,43,opt,name=x23" thrift:"43"`
 }
 
 type Peer176 struct {
@@ -2483,11 +6908,36 @@ type Peer176 struct {
 }
 
 type Rec177 struct {
-	V    int64    `json:"v" protobuf:"varint,1,opt,name=v" thrift:"1"`
-	Next *Rec177  `json:"next,omitempty" protobuf:"bytes,2,opt,name=next" thrift:"2"`
-	Kids []Rec177 `json:"kids,omitempty" protobuf:"bytes,3,rep,name=kids" thrift:"3"`
-	Peer *Peer177 `json:"peer,omitempty" protobuf:"bytes,4,opt,name=peer" thrift:"4"`
-	S    string   `json:"s,omitempty" protobuf:"bytes,5,opt,name=s" thrift:"5"`
+	M    map[string]Peer177 `json:"m,omitempty" protobuf:"bytes,6,rep,name=m" protobuf_key:"bytes,1,opt,name=key" protobuf_val:"bytes,2,opt,name=value" thrift:"6"`
+	V    int64              `json:"v" protobuf:"varint,1,opt,name=v" thrift:"1"`
+	Next *Rec177            `json:"next,omitempty" protobuf:"bytes,2,opt,name=next" thrift:"2"`
+	Kids []Rec177           `json:"kids,omitempty" protobuf:"bytes,3,rep,name=kids" thrift:"3"`
+	Peer *Peer177           `json:"peer,omitempty" protobuf:"bytes,4,opt,name=peer" thrift:"4"`
+	S    string             `json:"s,omitempty" protobuf:"bytes,5,opt,name=s" thrift:"5"`
+	X00  int64              `json:"x0,omitempty" protobuf:"varint,20,opt,name=x0" thrift:"20"`
+	X01  int64              `json:"x1,omitempty" protobuf:"varint,21,opt,name=x1" thrift:"21"`
+	X02  int64              `json:"x2,omitempty" protobuf:"varint,22,opt,name=x2" thrift:"22"`
+	X03  int64              `json:"x3,omitempty" protobuf:"varint,23,opt,name=x3" thrift:"23"`
+	X04  int64              `json:"x4,omitempty" protobuf:"varint,24,opt,name=x4" thrift:"24"`
+	X05  int64              `json:"x5,omitempty" protobuf:"varint,25,opt,name=x5" thrift:"25"`
+	X06  int64              `json:"x6,omitempty" protobuf:"varint,26,opt,name=x6" thrift:"26"`
+	X07  int64              `json:"x7,omitempty" protobuf:"varint,27,opt,name=x7" thrift:"27"`
+	X08  int64              `json:"x8,omitempty" protobuf:"varint,28,opt,name=x8" thrift:"28"`
+	X09  int64              `json:"x9,omitempty" protobuf:"varint,29,opt,name=x9" thrift:"29"`
+	X10  int64              `json:"x10,omitempty" protobuf:"varint,30,opt,name=x10" thrift:"30"`
+	X11  int64              `json:"x11,omitempty" protobuf:"varint,31,opt,name=x11" thrift:"31"`
+	X12  int64              `json:"x12,omitempty" protobuf:"varint,32,opt,name=x12" thrift:"32"`
+	X13  int64              `json:"x13,omitempty" protobuf:"varint,33,opt,name=x13" thrift:"33"`
+	X14  int64              `json:"x14,omitempty" protobuf:"varint,34,opt,name=x14" thrift:"34"`
+	X15  int64              `json:"x15,omitempty" protobuf:"varint,35,opt,name=x15" thrift:"35"`
+	X16  int64              `json:"x16,omitempty" protobuf:"varint,36,opt,name=x16" thrift:"36"`
+	X17  int64              `json:"x17,omitempty" protobuf:"varint,37,opt,name=x17" thrift:"37"`
+	X18  int64              `json:"x18,omitempty" protobuf:"varint,38,opt,name=x18" thrift:"38"`
+	X19  int64              `json:"x19,omitempty" protobuf:"varint,39,opt,name=x19" thrift:"39"`
+	X20  int64              `json:"x20,omitempty" protobuf:"varint,40,opt,name=x20" thrift:"40"`
+	X21  int64              `json:"x21,omitempty" protobuf:"varint,41,opt,name=x21" thrift:"41"`
+	X22  int64              `json:"x22,omitempty" protobuf:"varint,42,opt,name=x22" thrift:"42"`
+	X23  int64              `json:"x23,omitempty" protobuf:"varint,43,opt,name=x23" thrift:"43"`
 }
 
 type Peer177 struct {
@@ -2497,11 +6947,36 @@ type Peer177 struct {
 }
 
 type Rec178 struct {
-	V    int64    `json:"v" protobuf:"varint,1,opt,name=v" thrift:"1"`
-	Next *Rec178  `json:"next,omitempty" protobuf:"bytes,2,opt,name=next" thrift:"2"`
-	Kids []Rec178 `json:"kids,omitempty" protobuf:"bytes,3,rep,name=kids" thrift:"3"`
-	Peer *Peer178 `json:"peer,omitempty" protobuf:"bytes,4,opt,name=peer" thrift:"4"`
-	S    string   `json:"s,omitempty" protobuf:"bytes,5,opt,name=s" thrift:"5"`
+	M    map[string]Peer178 `json:"m,omitempty" protobuf:"bytes,6,rep,name=m" protobuf_key:"bytes,1,opt,name=key" protobuf_val:"bytes,2,opt,name=value" thrift:"6"`
+	V    int64              `json:"v" protobuf:"varint,1,opt,name=v" thrift:"1"`
+	Next *Rec178            `json:"next,omitempty" protobuf:"bytes,2,opt,name=next" thrift:"2"`
+	Kids []Rec178           `json:"kids,omitempty" protobuf:"bytes,3,rep,name=kids" thrift:"3"`
+	Peer *Peer178           `json:"peer,omitempty" protobuf:"bytes,4,opt,name=peer" thrift:"4"`
+	S    string             `json:"s,omitempty" protobuf:"bytes,5,opt,name=s" thrift:"5"`
+	X00  int64              `json:"x0,omitempty" protobuf:"varint,20,opt,name=x0" thrift:"20"`
+	X01  int64              `json:"x1,omitempty" protobuf:"varint,21,opt,name=x1" thrift:"21"`
+	X02  int64              `json:"x2,omitempty" protobuf:"varint,22,opt,name=x2" thrift:"22"`
+	X03  int64              `json:"x3,omitempty" protobuf:"varint,23,opt,name=x3" thrift:"23"`
+	X04  int64              `json:"x4,omitempty" protobuf:"varint,24,opt,name=x4" thrift:"24"`
+	X05  int64              `json:"x5,omitempty" protobuf:"varint,25,opt,name=x5" thrift:"25"`
+	X06  int64              `json:"x6,omitempty" protobuf:"varint,26,opt,name=x6" thrift:"26"`
+	X07  int64              `json:"x7,omitempty" protobuf:"varint,27,opt,name=x7" thrift:"27"`
+	X08  int64              `json:"x8,omitempty" protobuf:"varint,28,opt,name=x8" thrift:"28"`
+	X09  int64              `json:"x9,omitempty" protobuf:"varint,29,opt,name=x9" thrift:"29"`
+	X10  int64              `json:"x10,omitempty" protobuf:"varint,30,opt,name=x10" thrift:"30"`
+	X11  int64              `json:"x11,omitempty" protobuf:"varint,31,opt,name=x11" thrift:"31"`
+	X12  int64              `json:"x12,omitempty" protobuf:"varint,32,opt,name=x12" thrift:"32"`
+	X13  int64              `json:"x13,omitempty" protobuf:"varint,33,opt,name=x13" thrift:"33"`
+	X14  int64              `json:"x14,omitempty" protobuf:"varint,34,opt,name=x14" thrift:"34"`
+	X15  int64              `json:"x15,omitempty" protobuf:"varint,35,opt,name=x15" thrift:"35"`
+	X16  int64              `json:"x16,omitempty" protobuf:"varint,36,opt,name=x16" thrift:"36"`
+	X17  int64              `json:"x17,omitempty" protobuf:"varint,37,opt,name=x17" thrift:"37"`
+	X18  int64              `json:"x18,omitempty" protobuf:"varint,38,opt,name=x18" thrift:"38"`
+	X19  int64              `json:"x19,omitempty" protobuf:"varint,39,opt,name=x19" thrift:"39"`
+	X20  int64              `json:"x20,omitempty" protobuf:"varint,40,opt,name=x20" thrift:"40"`
+	X21  int64              `json:"x21,omitempty" protobuf:"varint,41,opt,name=x21" thrift:"41"`
+	X22  int64              `json:"x22,omitempty" protobuf:"varint,42,opt,name=x22" thrift:"42"`
+	X23  int64              `json:"x23,omitempty" protobuf:"varint,43,opt,name=x23" thrift:"43"`
 }
 
 type Peer178 struct {
@@ -2511,11 +6986,36 @@ type Peer178 struct {
 }
 
 type Rec179 struct {
-	V    int64    `json:"v" protobuf:"varint,1,opt,name=v" thrift:"1"`
-	Next *Rec179  `json:"next,omitempty" protobuf:"bytes,2,opt,name=next" thrift:"2"`
-	Kids []Rec179 `json:"kids,omitempty" protobuf:"bytes,3,rep,name=kids" thrift:"3"`
-	Peer *Peer179 `json:"peer,omitempty" protobuf:"bytes,4,opt,name=peer" thrift:"4"`
-	S    string   `json:"s,omitempty" protobuf:"bytes,5,opt,name=s" thrift:"5"`
+	M    map[string]Peer179 `json:"m,omitempty" protobuf:"bytes,6,rep,name=m" protobuf_key:"bytes,1,opt,name=key" protobuf_val:"bytes,2,opt,name=value" thrift:"6"`
+	V    int64              `json:"v" protobuf:"varint,1,opt,name=v" thrift:"1"`
+	Next *Rec179            `json:"next,omitempty" protobuf:"bytes,2,opt,name=next" thrift:"2"`
+	Kids []Rec179           `json:"kids,omitempty" protobuf:"bytes,3,rep,name=kids" thrift:"3"`
+	Peer *Peer179           `json:"peer,omitempty" protobuf:"bytes,4,opt,name=peer" thrift:"4"`
+	S    string             `json:"s,omitempty" protobuf:"bytes,5,opt,name=s" thrift:"5"`
+	X00  int64              `json:"x0,omitempty" protobuf:"varint,20,opt,name=x0" thrift:"20"`
+	X01  int64              `json:"x1,omitempty" protobuf:"varint,21,opt,name=x1" thrift:"21"`
+	X02  int64              `json:"x2,omitempty" protobuf:"varint,22,opt,name=x2" thrift:"22"`
+	X03  int64              `json:"x3,omitempty" protobuf:"varint,23,opt,name=x3" thrift:"23"`
+	X04  int64              `json:"x4,omitempty" protobuf:"varint,24,opt,name=x4" thrift:"24"`
+	X05  int64              `json:"x5,omitempty" protobuf:"varint,25,opt,name=x5" thrift:"25"`
+	X06  int64              `json:"x6,omitempty" protobuf:"varint,26,opt,name=x6" thrift:"26"`
+	X07  int64              `json:"x7,omitempty" protobuf:"varint,27,opt,name=x7" thrift:"27"`
+	X08  int64              `json:"x8,omitempty" protobuf:"varint,28,opt,name=x8" thrift:"28"`
+	X09  int64              `json:"x9,omitempty" protobuf:"varint,29,opt,name=x9" thrift:"29"`
+	X10  int64              `json:"x10,omitempty" protobuf:"varint,30,opt,name=x10" thrift:"30"`
+	X11  int64              `json:"x11,omitempty" protobuf:"varint,31,opt,name=x11" thrift:"31"`
+	X12  int64              `json:"x12,omitempty" protobuf:"varint,32,opt,name=x12" thrift:"32"`
+	X13  int64              `json:"x13,omitempty" protobuf:"varint,33,opt,name=x13" thrift:"33"`
+	X14  int64              `json:"x14,omitempty" protobuf:"varint,34,opt,name=x14" thrift:"34"`
+	X15  int64              `json:"x15,omitempty" protobuf:"varint,35,opt,name=x15" thrift:"35"`
+	X16  int64              `json:"x16,omitempty" protobuf:"varint,36,opt,name=x16" thrift:"36"`
+	X17  int64              `json:"x17,omitempty" protobuf:"varint,37,opt,name=x17" thrift:"37"`
+	X18  int64              `json:"x18,omitempty" protobuf:"varint,38,opt,name=x18" thrift:"38"`
+	X19  int64              `json:"x19,omitempty" protobuf:"varint,39,opt,name=x19" thrift:"39"`
+	X20  int64              `json:"x20,omitempty" protobuf:"varint,40,opt,name=x20" thrift:"40"`
+	X21  int64              `json:"x21,omitempty" protobuf:"varint,41,opt,name=x21" thrift:"41"`
+	X22  int64              `json:"x22,omitempty" protobuf:"varint,42,opt,name=x22" thrift:"42"`
+	X23  int64              `json:"x23,omitempty" protobuf:"varint,43,opt,name=x23" thrift:"43"`
 }
 
 type Peer179 struct {
@@ -2525,11 +7025,36 @@ type Peer179 struct {
 }
 
 type Rec180 struct {
-	V    int64    `json:"v" protobuf:"varint,1,opt,name=v" thrift:"1"`
-	Next *Rec180  `json:"next,omitempty" protobuf:"bytes,2,opt,name=next" thrift:"2"`
-	Kids []Rec180 `json:"kids,omitempty" protobuf:"bytes,3,rep,name=kids" thrift:"3"`
-	Peer *Peer180 `json:"peer,omitempty" protobuf:"bytes,4,opt,name=peer" thrift:"4"`
-	S    string   `json:"s,omitempty" protobuf:"bytes,5,opt,name=s" thrift:"5"`
+	M    map[string]Peer180 `json:"m,omitempty" protobuf:"bytes,6,rep,name=m" protobuf_key:"bytes,1,opt,name=key" protobuf_val:"bytes,2,opt,name=value" thrift:"6"`
+	V    int64              `json:"v" protobuf:"varint,1,opt,name=v" thrift:"1"`
+	Next *Rec180            `json:"next,omitempty" protobuf:"bytes,2,opt,name=next" thrift:"2"`
+	Kids []Rec180           `json:"kids,omitempty" protobuf:"bytes,3,rep,name=kids" thrift:"3"`
+	Peer *Peer180           `json:"peer,omitempty" protobuf:"bytes,4,opt,name=peer" thrift:"4"`
+	S    string             `json:"s,omitempty" protobuf:"bytes,5,opt,name=s" thrift:"5"`
+	X00  int64              `json:"x0,omitempty" protobuf:"varint,20,opt,name=x0" thrift:"20"`
+	X01  int64              `json:"x1,omitempty" protobuf:"varint,21,opt,name=x1" thrift:"21"`
+	X02  int64              `json:"x2,omitempty" protobuf:"varint,22,opt,name=x2" thrift:"22"`
+	X03  int64              `json:"x3,omitempty" protobuf:"varint,23,opt,name=x3" thrift:"23"`
+	X04  int64              `json:"x4,omitempty" protobuf:"varint,24,opt,name=x4" thrift:"24"`
+	X05  int64              `json:"x5,omitempty" protobuf:"varint,25,opt,name=x5" thrift:"25"`
+	X06  int64              `json:"x6,omitempty" protobuf:"varint,26,opt,name=x6" thrift:"26"`
+	X07  int64              `json:"x7,omitempty" protobuf:"varint,27,opt,name=x7" thrift:"27"`
+	X08  int64              `json:"x8,omitempty" protobuf:"varint,28,opt,name=x8" thrift:"28"`
+	X09  int64              `json:"x9,omitempty" protobuf:"varint,29,opt,name=x9" thrift:"29"`
+	X10  int64              `json:"x10,omitempty" protobuf:"varint,30,opt,name=x10" thrift:"30"`
+	X11  int64              `json:"x11,omitempty" protobuf:"varint,31,opt,name=x11" thrift:"31"`
+	X12  int64              `json:"x12,omitempty" protobuf:"varint,32,opt,name=x12" thrift:"32"`
+	X13  int64              `json:"x13,omitempty" protobuf:"varint,33,opt,name=x13" thrift:"33"`
+	X14  int64              `json:"x14,omitempty" protobuf:"varint,34,opt,name=x14" thrift:"34"`
+	X15  int64              `json:"x15,omitempty" protobuf:"varint,35,opt,name=x15" thrift:"35"`
+	X16  int64              `json:"x16,omitempty" protobuf:"varint,36,opt,name=x16" thrift:"36"`
+	X17  int64              `json:"x17,omitempty" protobuf:"varint,37,opt,name=x17" thrift:"37"`
+	X18  int64              `json:"x18,omitempty" protobuf:"varint,38,opt,name=x18" thrift:"38"`
+	X19  int64              `json:"x19,omitempty" protobuf:"varint,39,opt,name=x19" thrift:"39"`
+	X20  int64              `json:"x20,omitempty" protobuf:"varint,40,opt,name=x20" thrift:"40"`
+	X21  int64              `json:"x21,omitempty" protobuf:"varint,41,opt,name=x21" thrift:"41"`
+	X22  int64              `json:"x22,omitempty" protobuf:"varint,42,opt,name=x22" thrift:"42"`
+	X23  int64              `json:"x23,omitempty" protobuf:"varint,43,opt,name=x23" thrift:"43"`
 }
 
 type Peer180 struct {
@@ -2539,11 +7064,36 @@ type Peer180 struct {
 }
 
 type Rec181 struct {
-	V    int64    `json:"v" protobuf:"varint,1,opt,name=v" thrift:"1"`
-	Next *Rec181  `json:"next,omitempty" protobuf:"bytes,2,opt,name=next" thrift:"2"`
-	Kids []Rec181 `json:"kids,omitempty" protobuf:"bytes,3,rep,name=kids" thrift:"3"`
-	Peer *Peer181 `json:"peer,omitempty" protobuf:"bytes,4,opt,name=peer" thrift:"4"`
-	S    string   `json:"s,omitempty" protobuf:"bytes,5,opt,name=s" thrift:"5"`
+	M    map[string]Peer181 `json:"m,omitempty" protobuf:"bytes,6,rep,name=m" protobuf_key:"bytes,1,opt,name=key" protobuf_val:"bytes,2,opt,name=value" thrift:"6"`
+	V    int64              `json:"v" protobuf:"varint,1,opt,name=v" thrift:"1"`
+	Next *Rec181            `json:"next,omitempty" protobuf:"bytes,2,opt,name=next" thrift:"2"`
+	Kids []Rec181           `json:"kids,omitempty" protobuf:"bytes,3,rep,name=kids" thrift:"3"`
+	Peer *Peer181           `json:"peer,omitempty" protobuf:"bytes,4,opt,name=peer" thrift:"4"`
+	S    string             `json:"s,omitempty" protobuf:"bytes,5,opt,name=s" thrift:"5"`
+	X00  int64              `json:"x0,omitempty" protobuf:"varint,20,opt,name=x0" thrift:"20"`
+	X01  int64              `json:"x1,omitempty" protobuf:"varint,21,opt,name=x1" thrift:"21"`
+	X02  int64              `json:"x2,omitempty" protobuf:"varint,22,opt,name=x2" thrift:"22"`
+	X03  int64              `json:"x3,omitempty" protobuf:"varint,23,opt,name=x3" thrift:"23"`
+	X04  int64              `json:"x4,omitempty" protobuf:"varint,24,opt,name=x4" thrift:"24"`
+	X05  int64              `json:"x5,omitempty" protobuf:"varint,25,opt,name=x5" thrift:"25"`
+	X06  int64              `json:"x6,omitempty" protobuf:"varint,26,opt,name=x6" thrift:"26"`
+	X07  int64              `json:"x7,omitempty" protobuf:"varint,27,opt,name=x7" thrift:"27"`
+	X08  int64              `json:"x8,omitempty" protobuf:"varint,28,opt,name=x8" thrift:"28"`
+	X09  int64              `json:"x9,omitempty" protobuf:"varint,29,opt,name=x9" thrift:"29"`
+	X10  int64              `json:"x10,omitempty" protobuf:"varint,30,opt,name=x10" thrift:"30"`
+	X11  int64              `json:"x11,omitempty" protobuf:"varint,31,opt,name=x11" thrift:"31"`
+	X12  int64              `json:"x12,omitempty" protobuf:"varint,32,opt,name=x12" thrift:"32"`
+	X13  int64              `json:"x13,omitempty" protobuf:"varint,33,opt,name=x13" thrift:"33"`
+	X14  int64              `json:"x14,omitempty" protobuf:"varint,34,opt,name=x14" thrift:"34"`
+	X15  int64              `json:"x15,omitempty" protobuf:"varint,35,opt,name=x15" thrift:"35"`
+	X16  int64              `json:"x16,omitempty" protobuf:"varint,36,opt,name=x16" thrift:"36"`
+	X17  int64              `json:"x17,omitempty" protobuf:"varint,37,opt,name=x17" thrift:"37"`
+	X18  int64              `json:"x18,omitempty" protobuf:"varint,38,opt,name=x18" thrift:"38"`
+	X19  int64              `json:"x19,omitempty" protobuf:"varint,39,opt,name=x19" thrift:"39"`
+	X20  int64              `json:"x20,omitempty" protobuf:"varint,40,opt,name=x20" thrift:"40"`
+	X21  int64              `json:"x21,omitempty" protobuf:"varint,41,opt,name=x21" thrift:"41"`
+	X22  int64              `json:"x22,omitempty" protobuf:"varint,42,opt,name=x22" thrift:"42"`
+	X23  int64              `json:"x23,omitempty" protobuf:"varint,43,opt,name=x23" thrift:"43"`
 }
 
 type Peer181 struct {
@@ -2553,11 +7103,36 @@ type Peer181 struct {
 }
 
 type Rec182 struct {
-	V    int64    `json:"v" protobuf:"varint,1,opt,name=v" thrift:"1"`
-	Next *Rec182  `json:"next,omitempty" protobuf:"bytes,2,opt,name=next" thrift:"2"`
-	Kids []Rec182 `json:"kids,omitempty" protobuf:"bytes,3,rep,name=kids" thrift:"3"`
-	Peer *Peer182 `json:"peer,omitempty" protobuf:"bytes,4,opt,name=peer" thrift:"4"`
-	S    string   `json:"s,omitempty" protobuf:"bytes,5,opt,name=s" thrift:"5"`
+	M    map[string]Peer182 `json:"m,omitempty" protobuf:"bytes,6,rep,name=m" protobuf_key:"bytes,1,opt,name=key" protobuf_val:"bytes,2,opt,name=value" thrift:"6"`
+	V    int64              `json:"v" protobuf:"varint,1,opt,name=v" thrift:"1"`
+	Next *Rec182            `json:"next,omitempty" protobuf:"bytes,2,opt,name=next" thrift:"2"`
+	Kids []Rec182           `json:"kids,omitempty" protobuf:"bytes,3,rep,name=kids" thrift:"3"`
+	Peer *Peer182           `json:"peer,omitempty" protobuf:"bytes,4,opt,name=peer" thrift:"4"`
+	S    string             `json:"s,omitempty" protobuf:"bytes,5,opt,name=s" thrift:"5"`
+	X00  int64              `json:"x0,omitempty" protobuf:"varint,20,opt,name=x0" thrift:"20"`
+	X01  int64              `json:"x1,omitempty" protobuf:"varint,21,opt,name=x1" thrift:"21"`
+	X02  int64              `json:"x2,omitempty" protobuf:"varint,22,opt,name=x2" thrift:"22"`
+	X03  int64              `json:"x3,omitempty" protobuf:"varint,23,opt,name=x3" thrift:"23"`
+	X04  int64              `json:"x4,omitempty" protobuf:"varint,24,opt,name=x4" thrift:"24"`
+	X05  int64              `json:"x5,omitempty" protobuf:"varint,25,opt,name=x5" thrift:"25"`
+	X06  int64              `json:"x6,omitempty" protobuf:"varint,26,opt,name=x6" thrift:"26"`
+	X07  int64              `json:"x7,omitempty" protobuf:"varint,27,opt,name=x7" thrift:"27"`
+	X08  int64              `json:"x8,omitempty" protobuf:"varint,28,opt,name=x8" thrift:"28"`
+	X09  int64              `json:"x9,omitempty" protobuf:"varint,29,opt,name=x9" thrift:"29"`
+	X10  int64              `json:"x10,omitempty" protobuf:"varint,30,opt,name=x10" thrift:"30"`
+	X11  int64              `json:"x11,omitempty" protobuf:"varint,31,opt,name=x11" thrift:"31"`
+	X12  int64              `json:"x12,omitempty" protobuf:"varint,32,opt,name=x12" thrift:"32"`
+	X13  int64              `json:"x13,omitempty" protobuf:"varint,33,opt,name=x13" thrift:"33"`
+	X14  int64              `json:"x14,omitempty" protobuf:"varint,34,opt,name=x14" thrift:"34"`
+	X15  int64              `json:"x15,omitempty" protobuf:"varint,35,opt,name=x15" thrift:"35"`
+	X16  int64              `json:"x16,omitempty" protobuf:"varint,36,opt,name=x16" thrift:"36"`
+	X17  int64              `json:"x17,omitempty" protobuf:"varint,37,opt,name=x17" thrift:"37"`
+	X18  int64              `json:"x18,omitempty" protobuf:"varint,38,opt,name=x18" thrift:"38"`
+	X19  int64              `json:"x19,omitempty" protobuf:"varint,39,opt,name=x19" thrift:"39"`
+	X20  int64              `json:"x20,omitempty" protobuf:"varint,40,opt,name=x20" thrift:"40"`
+	X21  int64              `json:"x21,omitempty" protobuf:"varint,41,opt,name=x21" thrift:"41"`
+	X22  int64              `json:"x22,omitempty" protobuf:"varint,42,opt,name=x22" thrift:"42"`
+	X23  int64              `json:"x23,omitempty" protobuf:"varint,43,opt,name=x23" thrift:"43"`
 }
 
 type Peer182 struct {
@@ -2567,11 +7142,36 @@ type Peer182 struct {
 }
 
 type Rec183 struct {
-	V    int64    `json:"v" protobuf:"varint,1,opt,name=v" thrift:"1"`
-	Next *Rec183  `json:"next,omitempty" protobuf:"bytes,2,opt,name=next" thrift:"2"`
-	Kids []Rec183 `json:"kids,omitempty" protobuf:"bytes,3,rep,name=kids" thrift:"3"`
-	Peer *Peer183 `json:"peer,omitempty" protobuf:"bytes,4,opt,name=peer" thrift:"4"`
-	S    string   `json:"s,omitempty" protobuf:"bytes,5,opt,name=s" thrift:"5"`
+	M    map[string]Peer183 `json:"m,omitempty" protobuf:"bytes,6,rep,name=m" protobuf_key:"bytes,1,opt,name=key" protobuf_val:"bytes,2,opt,name=value" thrift:"6"`
+	V    int64              `json:"v" protobuf:"varint,1,opt,name=v" thrift:"1"`
+	Next *Rec183            `json:"next,omitempty" protobuf:"bytes,2,opt,name=next" thrift:"2"`
+	Kids []Rec183           `json:"kids,omitempty" protobuf:"bytes,3,rep,name=kids" thrift:"3"`
+	Peer *Peer183           `json:"peer,omitempty" protobuf:"bytes,4,opt,name=peer" thrift:"4"`
+	S    string             `json:"s,omitempty" protobuf:"bytes,5,opt,name=s" thrift:"5"`
+	X00  int64              `json:"x0,omitempty" protobuf:"varint,20,opt,name=x0" thrift:"20"`
+	X01  int64              `json:"x1,omitempty" protobuf:"varint,21,opt,name=x1" thrift:"21"`
+	X02  int64              `json:"x2,omitempty" protobuf:"varint,22,opt,name=x2" thrift:"22"`
+	X03  int64              `json:"x3,omitempty" protobuf:"varint,23,opt,name=x3" thrift:"23"`
+	X04  int64              `json:"x4,omitempty" protobuf:"varint,24,opt,name=x4" thrift:"24"`
+	X05  int64              `json:"x5,omitempty" protobuf:"varint,25,opt,name=x5" thrift:"25"`
+	X06  int64              `json:"x6,omitempty" protobuf:"varint,26,opt,name=x6" thrift:"26"`
+	X07  int64              `json:"x7,omitempty" protobuf:"varint,27,opt,name=x7" thrift:"27"`
+	X08  int64              `json:"x8,omitempty" protobuf:"varint,28,opt,name=x8" thrift:"28"`
+	X09  int64              `json:"x9,omitempty" protobuf:"varint,29,opt,name=x9" thrift:"29"`
+	X10  int64              `json:"x10,omitempty" protobuf:"varint,30,opt,name=x10" thrift:"30"`
+	X11  int64              `json:"x11,omitempty" protobuf:"varint,31,opt,name=x11" thrift:"31"`
+	X12  int64              `json:"x12,omitempty" protobuf:"varint,32,opt,name=x12" thrift:"32"`
+	X13  int64              `json:"x13,omitempty" protobuf:"varint,33,opt,name=x13" thrift:"33"`
+	X14  int64              `json:"x14,omitempty" protobuf:"varint,34,opt,name=x14" thrift:"34"`
+	X15  int64              `json:"x15,omitempty" protobuf:"varint,35,opt,name=x15" thrift:"35"`
+	X16  int64              `json:"x16,omitempty" protobuf:"varint,36,opt,name=x16" thrift:"36"`
+	X17  int64              `json:"x17,omitempty" protobuf:"varint,37,opt,name=x17" thrift:"37"`
+	X18  int64              `json:"x18,omitempty" protobuf:"varint,38,opt,name=x18" thrift:"38"`
+	X19  int64              `json:"x19,omitempty" protobuf:"varint,39,opt,name=x19" thrift:"39"`
+	X20  int64              `json:"x20,omitempty" protobuf:"varint,40,opt,name=x20" thrift:"40"`
+	X21  int64              `json:"x21,omitempty" protobuf:"varint,41,opt,name=x21" thrift:"41"`
+	X22  int64              `json:"x22,omitempty" protobuf:"varint,42,opt,name=x22" thrift:"42"`
+	X23  int64              `json:"x23,omitempty" protobuf:"varint,43,opt,name=x23" thrift:"43"`
 }
 
 type Peer183 struct {
@@ -2581,11 +7181,36 @@ type Peer183 struct {
 }
 
 type Rec184 struct {
-	V    int64    `json:"v" protobuf:"varint,1,opt,name=v" thrift:"1"`
-	Next *Rec184  `json:"next,omitempty" protobuf:"bytes,2,opt,name=next" thrift:"2"`
-	Kids []Rec184 `json:"kids,omitempty" protobuf:"bytes,3,rep,name=kids" thrift:"3"`
-	Peer *Peer184 `json:"peer,omitempty" protobuf:"bytes,4,opt,name=peer" thrift:"4"`
-	S    string   `json:"s,omitempty" protobuf:"bytes,5,opt,name=s" thrift:"5"`
+	M    map[string]Peer184 `json:"m,omitempty" protobuf:"bytes,6,rep,name=m" protobuf_key:"bytes,1,opt,name=key" protobuf_val:"bytes,2,opt,name=value" thrift:"6"`
+	V    int64              `json:"v" protobuf:"varint,1,opt,name=v" thrift:"1"`
+	Next *Rec184            `json:"next,omitempty" protobuf:"bytes,2,opt,name=next" thrift:"2"`
+	Kids []Rec184           `json:"kids,omitempty" protobuf:"bytes,3,rep,name=kids" thrift:"3"`
+	Peer *Peer184           `json:"peer,omitempty" protobuf:"bytes,4,opt,name=peer" thrift:"4"`
+	S    string             `json:"s,omitempty" protobuf:"bytes,5,opt,name=s" thrift:"5"`
+	X00  int64              `json:"x0,omitempty" protobuf:"varint,20,opt,name=x0" thrift:"20"`
+	X01  int64              `json:"x1,omitempty" protobuf:"varint,21,opt,name=x1" thrift:"21"`
+	X02  int64              `json:"x2,omitempty" protobuf:"varint,22,opt,name=x2" thrift:"22"`
+	X03  int64              `json:"x3,omitempty" protobuf:"varint,23,opt,name=x3" thrift:"23"`
+	X04  int64              `json:"x4,omitempty" protobuf:"varint,24,opt,name=x4" thrift:"24"`
+	X05  int64              `json:"x5,omitempty" protobuf:"varint,25,opt,name=x5" thrift:"25"`
+	X06  int64              `json:"x6,omitempty" protobuf:"varint,26,opt,name=x6" thrift:"26"`
+	X07  int64              `json:"x7,omitempty" protobuf:"varint,27,opt,name=x7" thrift:"27"`
+	X08  int64              `json:"x8,omitempty" protobuf:"varint,28,opt,name=x8" thrift:"28"`
+	X09  int64              `json:"x9,omitempty" protobuf:"varint,29,opt,name=x9" thrift:"29"`
+	X10  int64              `json:"x10,omitempty" protobuf:"varint,30,opt,name=x10" thrift:"30"`
+	X11  int64              `json:"x11,omitempty" protobuf:"varint,31,opt,name=x11" thrift:"31"`
+	X12  int64              `json:"x12,omitempty" protobuf:"varint,32,opt,name=x12" thrift:"32"`
+	X13  int64              `json:"x13,omitempty" protobuf:"varint,33,opt,name=x13" thrift:"33"`
+	X14  int64              `json:"x14,omitempty" protobuf:"varint,34,opt,name=x14" thrift:"34"`
+	X15  int64              `json:"x15,omitempty" protobuf:"varint,35,opt,name=x15" thrift:"35"`
+	X16  int64              `json:"x16,omitempty" protobuf:"varint,36,opt,name=x16" thrift:"36"`
+	X17  int64              `json:"x17,omitempty" protobuf:"varint,37,opt,name=x17" thrift:"37"`
+	X18  int64              `json:"x18,omitempty" protobuf:"varint,38,opt,name=x18" thrift:"38"`
+	X19  int64              `json:"x19,omitempty" protobuf:"varint,39,opt,name=x19" thrift:"39"`
+	X20  int64              `json:"x20,omitempty" protobuf:"varint,40,opt,name=x20" thrift:"40"`
+	X21  int64              `json:"x21,omitempty" protobuf:"varint,41,opt,name=x21" thrift:"41"`
+	X22  int64              `json:"x22,omitempty" protobuf:"varint,42,opt,name=x22" thrift:"42"`
+	X23  int64              `json:"x23,omitempty" protobuf:"varint,43,opt,name=x23" thrift:"43"`
 }
 
 type Peer184 struct {
@@ -2595,11 +7220,36 @@ type Peer184 struct {
 }
 
 type Rec185 struct {
-	V    int64    `json:"v" protobuf:"varint,1,opt,name=v" thrift:"1"`
-	Next *Rec185  `json:"next,omitempty" protobuf:"bytes,2,opt,name=next" thrift:"2"`
-	Kids []Rec185 `json:"kids,omitempty" protobuf:"bytes,3,rep,name=kids" thrift:"3"`
-	Peer *Peer185 `json:"peer,omitempty" protobuf:"bytes,4,opt,name=peer" thrift:"4"`
-	S    string   `json:"s,omitempty" protobuf:"bytes,5,opt,name=s" thrift:"5"`
+	M    map[string]Peer185 `json:"m,omitempty" protobuf:"bytes,6,rep,name=m" protobuf_key:"bytes,1,opt,name=key" protobuf_val:"bytes,2,opt,name=value" thrift:"6"`
+	V    int64              `json:"v" protobuf:"varint,1,opt,name=v" thrift:"1"`
+	Next *Rec185            `json:"next,omitempty" protobuf:"bytes,2,opt,name=next" thrift:"2"`
+	Kids []Rec185           `json:"kids,omitempty" protobuf:"bytes,3,rep,name=kids" thrift:"3"`
+	Peer *Peer185           `json:"peer,omitempty" protobuf:"bytes,4,opt,name=peer" thrift:"4"`
+	S    string             `json:"s,omitempty" protobuf:"bytes,5,opt,name=s" thrift:"5"`
+	X00  int64              `json:"x0,omitempty" protobuf:"varint,20,opt,name=x0" thrift:"20"`
+	X01  int64              `json:"x1,omitempty" protobuf:"varint,21,opt,name=x1" thrift:"21"`
+	X02  int64              `json:"x2,omitempty" protobuf:"varint,22,opt,name=x2" thrift:"22"`
+	X03  int64              `json:"x3,omitempty" protobuf:"varint,23,opt,name=x3" thrift:"23"`
+	X04  int64              `json:"x4,omitempty" protobuf:"varint,24,opt,name=x4" thrift:"24"`
+	X05  int64              `json:"x5,omitempty" protobuf:"varint,25,opt,name=x5" thrift:"25"`
+	X06  int64              `json:"x6,omitempty" protobuf:"varint,26,opt,name=x6" thrift:"26"`
+	X07  int64              `json:"x7,omitempty" protobuf:"varint,27,opt,name=x7" thrift:"27"`
+	X08  int64              `json:"x8,omitempty" protobuf:"varint,28,opt,name=x8" thrift:"28"`
+	X09  int64              `json:"x9,omitempty" protobuf:"varint,29,opt,name=x9" thrift:"29"`
+	X10  int64              `json:"x10,omitempty" protobuf:"varint,30,opt,name=x10" thrift:"30"`
+	X11  int64              `json:"x11,omitempty" protobuf:"varint,31,opt,name=x11" thrift:"31"`
+	X12  int64              `json:"x12,omitempty" protobuf:"varint,32,opt,name=x12" thrift:"32"`
+	X13  int64              `json:"x13,omitempty" protobuf:"varint,33,opt,name=x13" thrift:"33"`
+	X14  int64              `json:"x14,omitempty" protobuf:"varint,34,opt,name=x14" thrift:"34"`
+	X15  int64              `json:"x15,omitempty" protobuf:"varint,35,opt,name=x15" thrift:"35"`
+	X16  int64              `json:"x16,omitempty" protobuf:"varint,36,opt,name=x16" thrift:"36"`
+	X17  int64              `json:"x17,omitempty" protobuf:"varint,37,opt,name=x17" thrift:"37"`
+	X18  int64              `json:"x18,omitempty" protobuf:"varint,38,opt,name=x18" thrift:"38"`
+	X19  int64              `json:"x19,omitempty" protobuf:"varint,39,opt,name=x19" thrift:"39"`
+	X20  int64              `json:"x20,omitempty" protobuf:"varint,40,opt,name=x20" thrift:"40"`
+	X21  int64              `json:"x21,omitempty" protobuf:"varint,41,opt,name=x21" thrift:"41"`
+	X22  int64              `json:"x22,omitempty" protobuf:"varint,42,opt,name=x22" thrift:"42"`
+	X23  int64              `json:"x23,omitempty" protobuf:"varint,43,opt,name=x23" thrift:"43"`
 }
 
 type Peer185 struct {
@@ -2609,11 +7259,36 @@ type Peer185 struct {
 }
 
 type Rec186 struct {
-	V    int64    `json:"v" protobuf:"varint,1,opt,name=v" thrift:"1"`
-	Next *Rec186  `json:"next,omitempty" protobuf:"bytes,2,opt,name=next" thrift:"2"`
-	Kids []Rec186 `json:"kids,omitempty" protobuf:"bytes,3,rep,name=kids" thrift:"3"`
-	Peer *Peer186 `json:"peer,omitempty" protobuf:"bytes,4,opt,name=peer" thrift:"4"`
-	S    string   `json:"s,omitempty" protobuf:"bytes,5,opt,name=s" thrift:"5"`
+	M    map[string]Peer186 `json:"m,omitempty" protobuf:"bytes,6,rep,name=m" protobuf_key:"bytes,1,opt,name=key" protobuf_val:"bytes,2,opt,name=value" thrift:"6"`
+	V    int64              `json:"v" protobuf:"varint,1,opt,name=v" thrift:"1"`
+	Next *Rec186            `json:"next,omitempty" protobuf:"bytes,2,opt,name=next" thrift:"2"`
+	Kids []Rec186           `json:"kids,omitempty" protobuf:"bytes,3,rep,name=kids" thrift:"3"`
+	Peer *Peer186           `json:"peer,omitempty" protobuf:"bytes,4,opt,name=peer" thrift:"4"`
+	S    string             `json:"s,omitempty" protobuf:"bytes,5,opt,name=s" thrift:"5"`
+	X00  int64              `json:"x0,omitempty" protobuf:"varint,20,opt,name=x0" thrift:"20"`
+	X01  int64              `json:"x1,omitempty" protobuf:"varint,21,opt,name=x1" thrift:"21"`
+	X02  int64              `json:"x2,omitempty" protobuf:"varint,22,opt,name=x2" thrift:"22"`
+	X03  int64              `json:"x3,omitempty" protobuf:"varint,23,opt,name=x3" thrift:"23"`
+	X04  int64              `json:"x4,omitempty" protobuf:"varint,24,opt,name=x4" thrift:"24"`
+	X05  int64              `json:"x5,omitempty" protobuf:"varint,25,opt,name=x5" thrift:"25"`
+	X06  int64              `json:"x6,omitempty" protobuf:"varint,26,opt,name=x6" thrift:"26"`
+	X07  int64              `json:"x7,omitempty" protobuf:"varint,27,opt,name=x7" thrift:"27"`
+	X08  int64              `json:"x8,omitempty" protobuf:"varint,28,opt,name=x8" thrift:"28"`
+	X09  int64              `json:"x9,omitempty" protobuf:"varint,29,opt,name=x9" thrift:"29"`
+	X10  int64              `json:"x10,omitempty" protobuf:"varint,30,opt,name=x10" thrift:"30"`
+	X11  int64              `json:"x11,omitempty" protobuf:"varint,31,opt,name=x11" thrift:"31"`
+	X12  int64              `json:"x12,omitempty" protobuf:"varint,32,opt,name=x12" thrift:"32"`
+	X13  int64              `json:"x13,omitempty" protobuf:"varint,33,opt,name=x13" thrift:"33"`
+	X14  int64              `json:"x14,omitempty" protobuf:"varint,34,opt,name=x14" thrift:"34"`
+	X15  int64              `json:"x15,omitempty" protobuf:"varint,35,opt,name=x15" thrift:"35"`
+	X16  int64              `json:"x16,omitempty" protobuf:"varint,36,opt,name=x16" thrift:"36"`
+	X17  int64              `json:"x17,omitempty" protobuf:"varint,37,opt,name=x17" thrift:"37"`
+	X18  int64              `json:"x18,omitempty" protobuf:"varint,38,opt,name=x18" thrift:"38"`
+	X19  int64              `json:"x19,omitempty" protobuf:"varint,39,opt,name=x19" thrift:"39"`
+	X20  int64              `json:"x20,omitempty" protobuf:"varint,40,opt,name=x20" thrift:"40"`
+	X21  int64              `json:"x21,omitempty" protobuf:"varint,41,opt,name=x21" thrift:"41"`
+	X22  int64              `json:"x22,omitempty" protobuf:"varint,42,opt,name=x22" thrift:"42"`
+	X23  int64              `json:"x23,omitempty" protobuf:"varint,43,opt,name=x23" thrift:"43"`
 }
 
 type Peer186 struct {
@@ -2623,11 +7298,36 @@ type Peer186 struct {
 }
 
 type Rec187 struct {
-	V    int64    `json:"v" protobuf:"varint,1,opt,name=v" thrift:"1"`
-	Next *Rec187  `json:"next,omitempty" protobuf:"bytes,2,opt,name=next" thrift:"2"`
-	Kids []Rec187 `json:"kids,omitempty" protobuf:"bytes,3,rep,name=kids" thrift:"3"`
-	Peer *Peer187 `json:"peer,omitempty" protobuf:"bytes,4,opt,name=peer" thrift:"4"`
-	S    string   `json:"s,omitempty" protobuf:"bytes,5,opt,name=s" thrift:"5"`
+	M    map[string]Peer187 `json:"m,omitempty" protobuf:"bytes,6,rep,name=m" protobuf_key:"bytes,1,opt,name=key" protobuf_val:"bytes,2,opt,name=value" thrift:"6"`
+	V    int64              `json:"v" protobuf:"varint,1,opt,name=v" thrift:"1"`
+	Next *Rec187            `json:"next,omitempty" protobuf:"bytes,2,opt,name=next" thrift:"2"`
+	Kids []Rec187           `json:"kids,omitempty" protobuf:"bytes,3,rep,name=kids" thrift:"3"`
+	Peer *Peer187           `json:"peer,omitempty" protobuf:"bytes,4,opt,name=peer" thrift:"4"`
+	S    string             `json:"s,omitempty" protobuf:"bytes,5,opt,name=s" thrift:"5"`
+	X00  int64              `json:"x0,omitempty" protobuf:"varint,20,opt,name=x0" thrift:"20"`
+	X01  int64              `json:"x1,omitempty" protobuf:"varint,21,opt,name=x1" thrift:"21"`
+	X02  int64              `json:"x2,omitempty" protobuf:"varint,22,opt,name=x2" thrift:"22"`
+	X03  int64              `json:"x3,omitempty" protobuf:"varint,23,opt,name=x3" thrift:"23"`
+	X04  int64              `json:"x4,omitempty" protobuf:"varint,24,opt,name=x4" thrift:"24"`
+	X05  int64              `json:"x5,omitempty" protobuf:"varint,25,opt,name=x5" thrift:"25"`
+	X06  int64              `json:"x6,omitempty" protobuf:"varint,26,opt,name=x6" thrift:"26"`
+	X07  int64              `json:"x7,omitempty" protobuf:"varint,27,opt,name=x7" thrift:"27"`
+	X08  int64              `json:"x8,omitempty" protobuf:"varint,28,opt,name=x8" thrift:"28"`
+	X09  int64              `json:"x9,omitempty" protobuf:"varint,29,opt,name=x9" thrift:"29"`
+	X10  int64              `json:"x10,omitempty" protobuf:"varint,30,opt,name=x10" thrift:"30"`
+	X11  int64              `json:"x11,omitempty" protobuf:"varint,31,opt,name=x11" thrift:"31"`
+	X12  int64              `json:"x12,omitempty" protobuf:"varint,32,opt,name=x12" thrift:"32"`
+	X13  int64              `json:"x13,omitempty" protobuf:"varint,33,opt,name=x13" thrift:"33"`
+	X14  int64              `json:"x14,omitempty" protobuf:"varint,34,opt,name=x14" thrift:"34"`
+	X15  int64              `json:"x15,omitempty" protobuf:"varint,35,opt,name=x15" thrift:"35"`
+	X16  int64              `json:"x16,omitempty" protobuf:"varint,36,opt,name=x16" thrift:"36"`
+	X17  int64              `json:"x17,omitempty" protobuf:"varint,37,opt,name=x17" thrift:"37"`
+	X18  int64              `json:"x18,omitempty" protobuf:"varint,38,opt,name=x18" thrift:"38"`
+	X19  int64              `json:"x19,omitempty" protobuf:"varint,39,opt,name=x19" thrift:"39"`
+	X20  int64              `json:"x20,omitempty" protobuf:"varint,40,opt,name=x20" thrift:"40"`
+	X21  int64              `json:"x21,omitempty" protobuf:"varint,41,opt,name=x21" thrift:"41"`
+	X22  int64              `json:"x22,omitempty" protobuf:"varint,42,opt,name=x22" thrift:"42"`
+	X23  int64              `json:"x23,omitempty" protobuf:"varint,43,opt,name=x23" thrift:"43"`
 }
 
 type Peer187 struct {
@@ -2637,11 +7337,36 @@ type Peer187 struct {
 }
 
 type Rec188 struct {
-	V    int64    `json:"v" protobuf:"varint,1,opt,name=v" thrift:"1"`
-	Next *Rec188  `json:"next,omitempty" protobuf:"bytes,2,opt,name=next" thrift:"2"`
-	Kids []Rec188 `json:"kids,omitempty" protobuf:"bytes,3,rep,name=kids" thrift:"3"`
-	Peer *Peer188 `json:"peer,omitempty" protobuf:"bytes,4,opt,name=peer" thrift:"4"`
-	S    string   `json:"s,omitempty" protobuf:"bytes,5,opt,name=s" thrift:"5"`
+	M    map[string]Peer188 `json:"m,omitempty" protobuf:"bytes,6,rep,name=m" protobuf_key:"bytes,1,opt,name=key" protobuf_val:"bytes,2,opt,name=value" thrift:"6"`
+	V    int64              `json:"v" protobuf:"varint,1,opt,name=v" thrift:"1"`
+	Next *Rec188            `json:"next,omitempty" protobuf:"bytes,2,opt,name=next" thrift:"2"`
+	Kids []Rec188           `json:"kids,omitempty" protobuf:"bytes,3,rep,name=kids" thrift:"3"`
+	Peer *Peer188           `json:"peer,omitempty" protobuf:"bytes,4,opt,name=peer" thrift:"4"`
+	S    string             `json:"s,omitempty" protobuf:"bytes,5,opt,name=s" thrift:"5"`
+	X00  int64              `json:"x0,omitempty" protobuf:"varint,20,opt,name=x0" thrift:"20"`
+	X01  int64              `json:"x1,omitempty" protobuf:"varint,21,opt,name=x1" thrift:"21"`
+	X02  int64              `json:"x2,omitempty" protobuf:"varint,22,opt,name=x2" thrift:"22"`
+	X03  int64              `json:"x3,omitempty" protobuf:"varint,23,opt,name=x3" thrift:"23"`
+	X04  int64              `json:"x4,omitempty" protobuf:"varint,24,opt,name=x4" thrift:"24"`
+	X05  int64              `json:"x5,omitempty" protobuf:"varint,25,opt,name=x5" thrift:"25"`
+	X06  int64              `json:"x6,omitempty" protobuf:"varint,26,opt,name=x6" thrift:"26"`
+	X07  int64              `json:"x7,omitempty" protobuf:"varint,27,opt,name=x7" thrift:"27"`
+	X08  int64              `json:"x8,omitempty" protobuf:"varint,28,opt,name=x8" thrift:"28"`
+	X09  int64              `json:"x9,omitempty" protobuf:"varint,29,opt,name=x9" thrift:"29"`
+	X10  int64              `json:"x10,omitempty" protobuf:"varint,30,opt,name=x10" thrift:"30"`
+	X11  int64              `json:"x11,omitempty" protobuf:"varint,31,opt,name=x11" thrift:"31"`
+	X12  int64              `json:"x12,omitempty" protobuf:"varint,32,opt,name=x12" thrift:"32"`
+	X13  int64              `json:"x13,omitempty" protobuf:"varint,33,opt,name=x13" thrift:"33"`
+	X14  int64              `json:"x14,omitempty" protobuf:"varint,34,opt,name=x14" thrift:"34"`
+	X15  int64              `json:"x15,omitempty" protobuf:"varint,35,opt,name=x15" thrift:"35"`
+	X16  int64              `json:"x16,omitempty" protobuf:"varint,36,opt,name=x16" thrift:"36"`
+	X17  int64              `json:"x17,omitempty" protobuf:"varint,37,opt,name=x17" thrift:"37"`
+	X18  int64              `json:"x18,omitempty" protobuf:"varint,38,opt,name=x18" thrift:"38"`
+	X19  int64              `json:"x19,omitempty" protobuf:"varint,39,opt,name=x19" thrift:"39"`
+	X20  int64              `json:"x20,omitempty" protobuf:"varint,40,opt,name=x20" thrift:"40"`
+	X21  int64              `json:"x21,omitempty" protobuf:"varint,41,opt,name=x21" thrift:"41"`
+	X22  int64              `json:"x22,omitempty" protobuf:"varint,42,opt,name=x22" thrift:"42"`
+	X23  int64              `json:"x23,omitempty" protobuf:"varint,43,opt,name=x23" thrift:"43"`
 }
 
 type Peer188 struct {
@@ -2651,11 +7376,36 @@ type Peer188 struct {
 }
 
 type Rec189 struct {
-	V    int64    `json:"v" protobuf:"varint,1,opt,name=v" thrift:"1"`
-	Next *Rec189  `json:"next,omitempty" protobuf:"bytes,2,opt,name=next" thrift:"2"`
-	Kids []Rec189 `json:"kids,omitempty" protobuf:"bytes,3,rep,name=kids" thrift:"3"`
-	Peer *Peer189 `json:"peer,omitempty" protobuf:"bytes,4,opt,name=peer" thrift:"4"`
-	S    string   `json:"s,omitempty" protobuf:"bytes,5,opt,name=s" thrift:"5"`
+	M    map[string]Peer189 `json:"m,omitempty" protobuf:"bytes,6,rep,name=m" protobuf_key:"bytes,1,opt,name=key" protobuf_val:"bytes,2,opt,name=value" thrift:"6"`
+	V    int64              `json:"v" protobuf:"varint,1,opt,name=v" thrift:"1"`
+	Next *Rec189            `json:"next,omitempty" protobuf:"bytes,2,opt,name=next" thrift:"2"`
+	Kids []Rec189           `json:"kids,omitempty" protobuf:"bytes,3,rep,name=kids" thrift:"3"`
+	Peer *Peer189           `json:"peer,omitempty" protobuf:"bytes,4,opt,name=peer" thrift:"4"`
+	S    string             `json:"s,omitempty" protobuf:"bytes,5,opt,name=s" thrift:"5"`
+	X00  int64              `json:"x0,omitempty" protobuf:"varint,20,opt,name=x0" thrift:"20"`
+	X01  int64              `json:"x1,omitempty" protobuf:"varint,21,opt,name=x1" thrift:"21"`
+	X02  int64              `json:"x2,omitempty" protobuf:"varint,22,opt,name=x2" thrift:"22"`
+	X03  int64              `json:"x3,omitempty" protobuf:"varint,23,opt,name=x3" thrift:"23"`
+	X04  int64              `json:"x4,omitempty" protobuf:"varint,24,opt,name=x4" thrift:"24"`
+	X05  int64              `json:"x5,omitempty" protobuf:"varint,25,opt,name=x5" thrift:"25"`
+	X06  int64              `json:"x6,omitempty" protobuf:"varint,26,opt,name=x6" thrift:"26"`
+	X07  int64              `json:"x7,omitempty" protobuf:"varint,27,opt,name=x7" thrift:"27"`
+	X08  int64              `json:"x8,omitempty" protobuf:"varint,28,opt,name=x8" thrift:"28"`
+	X09  int64              `json:"x9,omitempty" protobuf:"varint,29,opt,name=x9" thrift:"29"`
+	X10  int64              `json:"x10,omitempty" protobuf:"varint,30,opt,name=x10" thrift:"30"`
+	X11  int64              `json:"x11,omitempty" protobuf:"varint,31,opt,name=x11" thrift:"31"`
+	X12  int64              `json:"x12,omitempty" protobuf:"varint,32,opt,name=x12" thrift:"32"`
+	X13  int64              `json:"x13,omitempty" protobuf:"varint,33,opt,name=x13" thrift:"33"`
+	X14  int64              `json:"x14,omitempty" protobuf:"varint,34,opt,name=x14" thrift:"34"`
+	X15  int64              `json:"x15,omitempty" protobuf:"varint,35,opt,name=x15" thrift:"35"`
+	X16  int64              `json:"x16,omitempty" protobuf:"varint,36,opt,name=x16" thrift:"36"`
+	X17  int64              `json:"x17,omitempty" protobuf:"varint,37,opt,name=x17" thrift:"37"`
+	X18  int64              `json:"x18,omitempty" protobuf:"varint,38,opt,name=x18" thrift:"38"`
+	X19  int64              `json:"x19,omitempty" protobuf:"varint,39,opt,name=x19" thrift:"39"`
+	X20  int64              `json:"x20,omitempty" protobuf:"varint,40,opt,name=x20" thrift:"40"`
+	X21  int64              `json:"x21,omitempty" protobuf:"varint,41,opt,name=x21" thrift:"41"`
+	X22  int64              `json:"x22,omitempty" protobuf:"varint,42,opt,name=x22" thrift:"42"`
+	X23  int64              `json:"x23,omitempty" protobuf:"varint,43,opt,name=x23" thrift:"43"`
 }
 
 type Peer189 struct {
@@ -2665,11 +7415,36 @@ type Peer189 struct {
 }
 
 type Rec190 struct {
-	V    int64    `json:"v" protobuf:"varint,1,opt,name=v" thrift:"1"`
-	Next *Rec190  `json:"next,omitempty" protobuf:"bytes,2,opt,name=next" thrift:"2"`
-	Kids []Rec190 `json:"kids,omitempty" protobuf:"bytes,3,rep,name=kids" thrift:"3"`
-	Peer *Peer190 `json:"peer,omitempty" protobuf:"bytes,4,opt,name=peer" thrift:"4"`
-	S    string   `json:"s,omitempty" protobuf:"bytes,5,opt,name=s" thrift:"5"`
+	M    map[string]Peer190 `json:"m,omitempty" protobuf:"bytes,6,rep,name=m" protobuf_key:"bytes,1,opt,name=key" protobuf_val:"bytes,2,opt,name=value" thrift:"6"`
+	V    int64              `json:"v" protobuf:"varint,1,opt,name=v" thrift:"1"`
+	Next *Rec190            `json:"next,omitempty" protobuf:"bytes,2,opt,name=next" thrift:"2"`
+	Kids []Rec190           `json:"kids,omitempty" protobuf:"bytes,3,rep,name=kids" thrift:"3"`
+	Peer *Peer190           `json:"peer,omitempty" protobuf:"bytes,4,opt,name=peer" thrift:"4"`
+	S    string             `json:"s,omitempty" protobuf:"bytes,5,opt,name=s" thrift:"5"`
+	X00  int64              `json:"x0,omitempty" protobuf:"varint,20,opt,name=x0" thrift:"20"`
+	X01  int64              `json:"x1,omitempty" protobuf:"varint,21,opt,name=x1" thrift:"21"`
+	X02  int64              `json:"x2,omitempty" protobuf:"varint,22,opt,name=x2" thrift:"22"`
+	X03  int64              `json:"x3,omitempty" protobuf:"varint,23,opt,name=x3" thrift:"23"`
+	X04  int64              `json:"x4,omitempty" protobuf:"varint,24,opt,name=x4" thrift:"24"`
+	X05  int64              `json:"x5,omitempty" protobuf:"varint,25,opt,name=x5" thrift:"25"`
+	X06  int64              `json:"x6,omitempty" protobuf:"varint,26,opt,name=x6" thrift:"26"`
+	X07  int64              `json:"x7,omitempty" protobuf:"varint,27,opt,name=x7" thrift:"27"`
+	X08  int64              `json:"x8,omitempty" protobuf:"varint,28,opt,name=x8" thrift:"28"`
+	X09  int64              `json:"x9,omitempty" protobuf:"varint,29,opt,name=x9" thrift:"29"`
+	X10  int64              `json:"x10,omitempty" protobuf:"varint,30,opt,name=x10" thrift:"30"`
+	X11  int64              `json:"x11,omitempty" protobuf:"varint,31,opt,name=x11" thrift:"31"`
+	X12  int64              `json:"x12,omitempty" protobuf:"varint,32,opt,name=x12" thrift:"32"`
+	X13  int64              `json:"x13,omitempty" protobuf:"varint,33,opt,name=x13" thrift:"33"`
+	X14  int64              `json:"x14,omitempty" protobuf:"varint,34,opt,name=x14" thrift:"34"`
+	X15  int64              `json:"x15,omitempty" protobuf:"varint,35,opt,name=x15" thrift:"35"`
+	X16  int64              `json:"x16,omitempty" protobuf:"varint,36,opt,name=x16" thrift:"36"`
+	X17  int64              `json:"x17,omitempty" protobuf:"varint,37,opt,name=x17" thrift:"37"`
+	X18  int64              `json:"x18,omitempty" protobuf:"varint,38,opt,name=x18" thrift:"38"`
+	X19  int64              `json:"x19,omitempty" protobuf:"varint,39,opt,name=x19" thrift:"39"`
+	X20  int64              `json:"x20,omitempty" protobuf:"varint,40,opt,name=x20" thrift:"40"`
+	X21  int64              `json:"x21,omitempty" protobuf:"varint,41,opt,name=x21" thrift:"41"`
+	X22  int64              `json:"x22,omitempty" protobuf:"varint,42,opt,name=x22" thrift:"42"`
+	X23  int64              `json:"x23,omitempty" protobuf:"varint,43,opt,name=x23" thrift:"43"`
 }
 
 type Peer190 struct {
@@ -2679,11 +7454,36 @@ type Peer190 struct {
 }
 
 type Rec191 struct {
-	V    int64    `json:"v" protobuf:"varint,1,opt,name=v" thrift:"1"`
-	Next *Rec191  `json:"next,omitempty" protobuf:"bytes,2,opt,name=next" thrift:"2"`
-	Kids []Rec191 `json:"kids,omitempty" protobuf:"bytes,3,rep,name=kids" thrift:"3"`
-	Peer *Peer191 `json:"peer,omitempty" protobuf:"bytes,4,opt,name=peer" thrift:"4"`
-	S    string   `json:"s,omitempty" protobuf:"bytes,5,opt,name=s" thrift:"5"`
+	M    map[string]Peer191 `json:"m,omitempty" protobuf:"bytes,6,rep,name=m" protobuf_key:"bytes,1,opt,name=key" protobuf_val:"bytes,2,opt,name=value" thrift:"6"`
+	V    int64              `json:"v" protobuf:"varint,1,opt,name=v" thrift:"1"`
+	Next *Rec191            `json:"next,omitempty" protobuf:"bytes,2,opt,name=next" thrift:"2"`
+	Kids []Rec191           `json:"kids,omitempty" protobuf:"bytes,3,rep,name=kids" thrift:"3"`
+	Peer *Peer191           `json:"peer,omitempty" protobuf:"bytes,4,opt,name=peer" thrift:"4"`
+	S    string             `json:"s,omitempty" protobuf:"bytes,5,opt,name=s" thrift:"5"`
+	X00  int64              `json:"x0,omitempty" protobuf:"varint,20,opt,name=x0" thrift:"20"`
+	X01  int64              `json:"x1,omitempty" protobuf:"varint,21,opt,name=x1" thrift:"21"`
+	X02  int64              `json:"x2,omitempty" protobuf:"varint,22,opt,name=x2" thrift:"22"`
+	X03  int64              `json:"x3,omitempty" protobuf:"varint,23,opt,name=x3" thrift:"23"`
+	X04  int64              `json:"x4,omitempty" protobuf:"varint,24,opt,name=x4" thrift:"24"`
+	X05  int64              `json:"x5,omitempty" protobuf:"varint,25,opt,name=x5" thrift:"25"`
+	X06  int64              `json:"x6,omitempty" protobuf:"varint,26,opt,name=x6" thrift:"26"`
+	X07  int64              `json:"x7,omitempty" protobuf:"varint,27,opt,name=x7" thrift:"27"`
+	X08  int64              `json:"x8,omitempty" protobuf:"varint,28,opt,name=x8" thrift:"28"`
+	X09  int64              `json:"x9,omitempty" protobuf:"varint,29,opt,name=x9" thrift:"29"`
+	X10  int64              `json:"x10,omitempty" protobuf:"varint,30,opt,name=x10" thrift:"30"`
+	X11  int64              `json:"x11,omitempty" protobuf:"varint,31,opt,name=x11" thrift:"31"`
+	X12  int64              `json:"x12,omitempty" protobuf:"varint,32,opt,name=x12" thrift:"32"`
+	X13  int64              `json:"x13,omitempty" protobuf:"varint,33,opt,name=x13" thrift:"33"`
+	X14  int64              `json:"x14,omitempty" protobuf:"varint,34,opt,name=x14" thrift:"34"`
+	X15  int64              `json:"x15,omitempty" protobuf:"varint,35,opt,name=x15" thrift:"35"`
+	X16  int64              `json:"x16,omitempty" protobuf:"varint,36,opt,name=x16" thrift:"36"`
+	X17  int64              `json:"x17,omitempty" protobuf:"varint,37,opt,name=x17" thrift:"37"`
+	X18  int64              `json:"x18,omitempty" protobuf:"varint,38,opt,name=x18" thrift:"38"`
+	X19  int64              `json:"x19,omitempty" protobuf:"varint,39,opt,name=x19" thrift:"39"`
+	X20  int64              `json:"x20,omitempty" protobuf:"varint,40,opt,name=x20" thrift:"40"`
+	X21  int64              `json:"x21,omitempty" protobuf:"varint,41,opt,name=x21" thrift:"41"`
+	X22  int64              `json:"x22,omitempty" protobuf:"varint,42,opt,name=x22" thrift:"42"`
+	X23  int64              `json:"x23,omitempty" protobuf:"varint,43,opt,name=x23" thrift:"43"`
 }
 
 type Peer191 struct {
@@ -2693,11 +7493,36 @@ type Peer191 struct {
 }
 
 type Rec192 struct {
-	V    int64    `json:"v" protobuf:"varint,1,opt,name=v" thrift:"1"`
-	Next *Rec192  `json:"next,omitempty" protobuf:"bytes,2,opt,name=next" thrift:"2"`
-	Kids []Rec192 `json:"kids,omitempty" protobuf:"bytes,3,rep,name=kids" thrift:"3"`
-	Peer *Peer192 `json:"peer,omitempty" protobuf:"bytes,4,opt,name=peer" thrift:"4"`
-	S    string   `json:"s,omitempty" protobuf:"bytes,5,opt,name=s" thrift:"5"`
+	M    map[string]Peer192 `json:"m,omitempty" protobuf:"bytes,6,rep,name=m" protobuf_key:"bytes,1,opt,name=key" protobuf_val:"bytes,2,opt,name=value" thrift:"6"`
+	V    int64              `json:"v" protobuf:"varint,1,opt,name=v" thrift:"1"`
+	Next *Rec192            `json:"next,omitempty" protobuf:"bytes,2,opt,name=next" thrift:"2"`
+	Kids []Rec192           `json:"kids,omitempty" protobuf:"bytes,3,rep,name=kids" thrift:"3"`
+	Peer *Peer192           `json:"peer,omitempty" protobuf:"bytes,4,opt,name=peer" thrift:"4"`
+	S    string             `json:"s,omitempty" protobuf:"bytes,5,opt,name=s" thrift:"5"`
+	X00  int64              `json:"x0,omitempty" protobuf:"varint,20,opt,name=x0" thrift:"20"`
+	X01  int64              `json:"x1,omitempty" protobuf:"varint,21,opt,name=x1" thrift:"21"`
+	X02  int64              `json:"x2,omitempty" protobuf:"varint,22,opt,name=x2" thrift:"22"`
+	X03  int64              `json:"x3,omitempty" protobuf:"varint,23,opt,name=x3" thrift:"23"`
+	X04  int64              `json:"x4,omitempty" protobuf:"varint,24,opt,name=x4" thrift:"24"`
+	X05  int64              `json:"x5,omitempty" protobuf:"varint,25,opt,name=x5" thrift:"25"`
+	X06  int64              `json:"x6,omitempty" protobuf:"varint,26,opt,name=x6" thrift:"26"`
+	X07  int64              `json:"x7,omitempty" protobuf:"varint,27,opt,name=x7" thrift:"27"`
+	X08  int64              `json:"x8,omitempty" protobuf:"varint,28,opt,name=x8" thrift:"28"`
+	X09  int64              `json:"x9,omitempty" protobuf:"varint,29,opt,name=x9" thrift:"29"`
+	X10  int64              `json:"x10,omitempty" protobuf:"varint,30,opt,name=x10" thrift:"30"`
+	X11  int64              `json:"x11,omitempty" protobuf:"varint,31,opt,name=x11" thrift:"31"`
+	X12  int64              `json:"x12,omitempty" protobuf:"varint,32,opt,name=x12" thrift:"32"`
+	X13  int64              `json:"x13,omitempty" protobuf:"varint,33,opt,name=x13" thrift:"33"`
+	X14  int64              `json:"x14,omitempty" protobuf:"varint,34,opt,name=x14" thrift:"34"`
+	X15  int64              `json:"x15,omitempty" protobuf:"varint,35,opt,name=x15" thrift:"35"`
+	X16  int64              `json:"x16,omitempty" protobuf:"varint,36,opt,name=x16" thrift:"36"`
+	X17  int64              `json:"x17,omitempty" protobuf:"varint,37,opt,name=x17" thrift:"37"`
+	X18  int64              `json:"x18,omitempty" protobuf:"varint,38,opt,name=x18" thrift:"38"`
+	X19  int64              `json:"x19,omitempty" protobuf:"varint,39,opt,name=x19" thrift:"39"`
+	X20  int64              `json:"x20,omitempty" protobuf:"varint,40,opt,name=x20" thrift:"40"`
+	X21  int64              `json:"x21,omitempty" protobuf:"varint,41,opt,name=x21" thrift:"41"`
+	X22  int64              `json:"x22,omitempty" protobuf:"varint,42,opt,name=x22" thrift:"42"`
+	X23  int64              `json:"x23,omitempty" protobuf:"varint,43,opt,name=x23" thrift:"43"`
 }
 
 type Peer192 struct {
@@ -2707,11 +7532,36 @@ type Peer192 struct {
 }
 
 type Rec193 struct {
-	V    int64    `json:"v" protobuf:"varint,1,opt,name=v" thrift:"1"`
-	Next *Rec193  `json:"next,omitempty" protobuf:"bytes,2,opt,name=next" thrift:"2"`
-	Kids []Rec193 `json:"kids,omitempty" protobuf:"bytes,3,rep,name=kids" thrift:"3"`
-	Peer *Peer193 `json:"peer,omitempty" protobuf:"bytes,4,opt,name=peer" thrift:"4"`
-	S    string   `json:"s,omitempty" protobuf:"bytes,5,opt,name=s" thrift:"5"`
+	M    map[string]Peer193 `json:"m,omitempty" protobuf:"bytes,6,rep,name=m" protobuf_key:"bytes,1,opt,name=key" protobuf_val:"bytes,2,opt,name=value" thrift:"6"`
+	V    int64              `json:"v" protobuf:"varint,1,opt,name=v" thrift:"1"`
+	Next *Rec193            `json:"next,omitempty" protobuf:"bytes,2,opt,name=next" thrift:"2"`
+	Kids []Rec193           `json:"kids,omitempty" protobuf:"bytes,3,rep,name=kids" thrift:"3"`
+	Peer *Peer193           `json:"peer,omitempty" protobuf:"bytes,4,opt,name=peer" thrift:"4"`
+	S    string             `json:"s,omitempty" protobuf:"bytes,5,opt,name=s" thrift:"5"`
+	X00  int64              `json:"x0,omitempty" protobuf:"varint,20,opt,name=x0" thrift:"20"`
+	X01  int64              `json:"x1,omitempty" protobuf:"varint,21,opt,name=x1" thrift:"21"`
+	X02  int64              `json:"x2,omitempty" protobuf:"varint,22,opt,name=x2" thrift:"22"`
+	X03  int64              `json:"x3,omitempty" protobuf:"varint,23,opt,name=x3" thrift:"23"`
+	X04  int64              `json:"x4,omitempty" protobuf:"varint,24,opt,name=x4" thrift:"24"`
+	X05  int64              `json:"x5,omitempty" protobuf:"varint,25,opt,name=x5" thrift:"25"`
+	X06  int64              `json:"x6,omitempty" protobuf:"varint,26,opt,name=x6" thrift:"26"`
+	X07  int64              `json:"x7,omitempty" protobuf:"varint,27,opt,name=x7" thrift:"27"`
+	X08  int64              `json:"x8,omitempty" protobuf:"varint,28,opt,name=x8" thrift:"28"`
+	X09  int64              `json:"x9,omitempty" protobuf:"varint,29,opt,name=x9" thrift:"29"`
+	X10  int64              `json:"x10,omitempty" protobuf:"varint,30,opt,name=x10" thrift:"30"`
+	X11  int64              `json:"x11,omitempty" protobuf:"varint,31,opt,name=x11" thrift:"31"`
+	X12  int64              `json:"x12,omitempty" protobuf:"varint,32,opt,name=x12" thrift:"32"`
+	X13  int64              `json:"x13,omitempty" protobuf:"varint,33,opt,name=x13" thrift:"33"`
+	X14  int64              `json:"x14,omitempty" protobuf:"varint,34,opt,name=x14" thrift:"34"`
+	X15  int64              `json:"x15,omitempty" protobuf:"varint,35,opt,name=x15" thrift:"35"`
+	X16  int64              `json:"x16,omitempty" protobuf:"varint,36,opt,name=x16" thrift:"36"`
+	X17  int64              `json:"x17,omitempty" protobuf:"varint,37,opt,name=x17" thrift:"37"`
+	X18  int64              `json:"x18,omitempty" protobuf:"varint,38,opt,name=x18" thrift:"38"`
+	X19  int64              `json:"x19,omitempty" protobuf:"varint,39,opt,name=x19" thrift:"39"`
+	X20  int64              `json:"x20,omitempty" protobuf:"varint,40,opt,name=x20" thrift:"40"`
+	X21  int64              `json:"x21,omitempty" protobuf:"varint,41,opt,name=x21" thrift:"41"`
+	X22  int64              `json:"x22,omitempty" protobuf:"varint,42,opt,name=x22" thrift:"42"`
+	X23  int64              `json:"x23,omitempty" protobuf:"varint,43,opt,name=x23" thrift:"43"`
 }
 
 type Peer193 struct {
@@ -2721,11 +7571,36 @@ type Peer193 struct {
 }
 
 type Rec194 struct {
-	V    int64    `json:"v" protobuf:"varint,1,opt,name=v" thrift:"1"`
-	Next *Rec194  `json:"next,omitempty" protobuf:"bytes,2,opt,name=next" thrift:"2"`
-	Kids []Rec194 `json:"kids,omitempty" protobuf:"bytes,3,rep,name=kids" thrift:"3"`
-	Peer *Peer194 `json:"peer,omitempty" protobuf:"bytes,4,opt,name=peer" thrift:"4"`
-	S    string   `json:"s,omitempty" protobuf:"bytes,5,opt,name=s" thrift:"5"`
+	M    map[string]Peer194 `json:"m,omitempty" protobuf:"bytes,6,rep,name=m" protobuf_key:"bytes,1,opt,name=key" protobuf_val:"bytes,2,opt,name=value" thrift:"6"`
+	V    int64              `json:"v" protobuf:"varint,1,opt,name=v" thrift:"1"`
+	Next *Rec194            `json:"next,omitempty" protobuf:"bytes,2,opt,name=next" thrift:"2"`
+	Kids []Rec194           `json:"kids,omitempty" protobuf:"bytes,3,rep,name=kids" thrift:"3"`
+	Peer *Peer194           `json:"peer,omitempty" protobuf:"bytes,4,opt,name=peer" thrift:"4"`
+	S    string             `json:"s,omitempty" protobuf:"bytes,5,opt,name=s" thrift:"5"`
+	X00  int64              `json:"x0,omitempty" protobuf:"varint,20,opt,name=x0" thrift:"20"`
+	X01  int64              `json:"x1,omitempty" protobuf:"varint,21,opt,name=x1" thrift:"21"`
+	X02  int64              `json:"x2,omitempty" protobuf:"varint,22,opt,name=x2" thrift:"22"`
+	X03  int64              `json:"x3,omitempty" protobuf:"varint,23,opt,name=x3" thrift:"23"`
+	X04  int64              `json:"x4,omitempty" protobuf:"varint,24,opt,name=x4" thrift:"24"`
+	X05  int64              `json:"x5,omitempty" protobuf:"varint,25,opt,name=x5" thrift:"25"`
+	X06  int64              `json:"x6,omitempty" protobuf:"varint,26,opt,name=x6" thrift:"26"`
+	X07  int64              `json:"x7,omitempty" protobuf:"varint,27,opt,name=x7" thrift:"27"`
+	X08  int64              `json:"x8,omitempty" protobuf:"varint,28,opt,name=x8" thrift:"28"`
+	X09  int64              `json:"x9,omitempty" protobuf:"varint,29,opt,name=x9" thrift:"29"`
+	X10  int64              `json:"x10,omitempty" protobuf:"varint,30,opt,name=x10" thrift:"30"`
+	X11  int64              `json:"x11,omitempty" protobuf:"varint,31,opt,name=x11" thrift:"31"`
+	X12  int64              `json:"x12,omitempty" protobuf:"varint,32,opt,name=x12" thrift:"32"`
+	X13  int64              `json:"x13,omitempty" protobuf:"varint,33,opt,name=x13" thrift:"33"`
+	X14  int64              `json:"x14,omitempty" protobuf:"varint,34,opt,name=x14" thrift:"34"`
+	X15  int64              `json:"x15,omitempty" protobuf:"varint,35,opt,name=x15" thrift:"35"`
+	X16  int64              `json:"x16,omitempty" protobuf:"varint,36,opt,name=x16" thrift:"36"`
+	X17  int64              `json:"x17,omitempty" protobuf:"varint,37,opt,name=x17" thrift:"37"`
+	X18  int64              `json:"x18,omitempty" protobuf:"varint,38,opt,name=x18" thrift:"38"`
+	X19  int64              `json:"x19,omitempty" protobuf:"varint,39,opt,name=x19" thrift:"39"`
+	X20  int64              `json:"x20,omitempty" protobuf:"varint,40,opt,name=x20" thrift:"40"`
+	X21  int64              `json:"x21,omitempty" protobuf:"varint,41,opt,name=x21" thrift:"41"`
+	X22  int64              `json:"x22,omitempty" protobuf:"varint,42,opt,name=x22" thrift:"42"`
+	X23  int64              `json:"x23,omitempty" protobuf:"varint,43,opt,name=x23" thrift:"43"`
 }
 
 type Peer194 struct {
@@ -2735,11 +7610,36 @@ type Peer194 struct {
 }
 
 type Rec195 struct {
-	V    int64    `json:"v" protobuf:"varint,1,opt,name=v" thrift:"1"`
-	Next *Rec195  `json:"next,omitempty" protobuf:"bytes,2,opt,name=next" thrift:"2"`
-	Kids []Rec195 `json:"kids,omitempty" protobuf:"bytes,3,rep,name=kids" thrift:"3"`
-	Peer *Peer195 `json:"peer,omitempty" protobuf:"bytes,4,opt,name=peer" thrift:"4"`
-	S    string   `json:"s,omitempty" protobuf:"bytes,5,opt,name=s" thrift:"5"`
+	M    map[string]Peer195 `json:"m,omitempty" protobuf:"bytes,6,rep,name=m" protobuf_key:"bytes,1,opt,name=key" protobuf_val:"bytes,2,opt,name=value" thrift:"6"`
+	V    int64              `json:"v" protobuf:"varint,1,opt,name=v" thrift:"1"`
+	Next *Rec195            `json:"next,omitempty" protobuf:"bytes,2,opt,name=next" thrift:"2"`
+	Kids []Rec195           `json:"kids,omitempty" protobuf:"bytes,3,rep,name=kids" thrift:"3"`
+	Peer *Peer195           `json:"peer,omitempty" protobuf:"bytes,4,opt,name=peer" thrift:"4"`
+	S    string             `json:"s,omitempty" protobuf:"bytes,5,opt,name=s" thrift:"5"`
+	X00  int64              `json:"x0,omitempty" protobuf:"varint,20,opt,name=x0" thrift:"20"`
+	X01  int64              `json:"x1,omitempty" protobuf:"varint,21,opt,name=x1" thrift:"21"`
+	X02  int64              `json:"x2,omitempty" protobuf:"varint,22,opt,name=x2" thrift:"22"`
+	X03  int64              `json:"x3,omitempty" protobuf:"varint,23,opt,name=x3" thrift:"23"`
+	X04  int64              `json:"x4,omitempty" protobuf:"varint,24,opt,name=x4" thrift:"24"`
+	X05  int64              `json:"x5,omitempty" protobuf:"varint,25,opt,name=x5" thrift:"25"`
+	X06  int64              `json:"x6,omitempty" protobuf:"varint,26,opt,name=x6" thrift:"26"`
+	X07  int64              `json:"x7,omitempty" protobuf:"varint,27,opt,name=x7" thrift:"27"`
+	X08  int64              `json:"x8,omitempty" protobuf:"varint,28,opt,name=x8" thrift:"28"`
+	X09  int64              `json:"x9,omitempty" protobuf:"varint,29,opt,name=x9" thrift:"29"`
+	X10  int64              `json:"x10,omitempty" protobuf:"varint,30,opt,name=x10" thrift:"30"`
+	X11  int64              `json:"x11,omitempty" protobuf:"varint,31,opt,name=x11" thrift:"31"`
+	X12  int64              `json:"x12,omitempty" protobuf:"varint,32,opt,name=x12" thrift:"32"`
+	X13  int64              `json:"x13,omitempty" protobuf:"varint,33,opt,name=x13" thrift:"33"`
+	X14  int64              `json:"x14,omitempty" protobuf:"varint,34,opt,name=x14" thrift:"34"`
+	X15  int64              `json:"x15,omitempty" protobuf:"varint,35,opt,name=x15" thrift:"35"`
+	X16  int64              `json:"x16,omitempty" protobuf:"varint,36,opt,name=x16" thrift:"36"`
+	X17  int64              `json:"x17,omitempty" protobuf:"varint,37,opt,name=x17" thrift:"37"`
+	X18  int64              `json:"x18,omitempty" protobuf:"varint,38,opt,name=x18" thrift:"38"`
+	X19  int64              `json:"x19,omitempty" protobuf:"varint,39,opt,name=x19" thrift:"39"`
+	X20  int64              `json:"x20,omitempty" protobuf:"varint,40,opt,name=x20" thrift:"40"`
+	X21  int64              `json:"x21,omitempty" protobuf:"varint,41,opt,name=x21" thrift:"41"`
+	X22  int64              `json:"x22,omitempty" protobuf:"varint,42,opt,name=x22" thrift:"42"`
+	X23  int64              `json:"x23,omitempty" protobuf:"varint,43,opt,name=x23" thrift:"43"`
 }
 
 type Peer195 struct {
@@ -2749,11 +7649,36 @@ type Peer195 struct {
 }
 
 type Rec196 struct {
-	V    int64    `json:"v" protobuf:"varint,1,opt,name=v" thrift:"1"`
-	Next *Rec196  `json:"next,omitempty" protobuf:"bytes,2,opt,name=next" thrift:"2"`
-	Kids []Rec196 `json:"kids,omitempty" protobuf:"bytes,3,rep,name=kids" thrift:"3"`
-	Peer *Peer196 `json:"peer,omitempty" protobuf:"bytes,4,opt,name=peer" thrift:"4"`
-	S    string   `json:"s,omitempty" protobuf:"bytes,5,opt,name=s" thrift:"5"`
+	M    map[string]Peer196 `json:"m,omitempty" protobuf:"bytes,6,rep,name=m" protobuf_key:"bytes,1,opt,name=key" protobuf_val:"bytes,2,opt,name=value" thrift:"6"`
+	V    int64              `json:"v" protobuf:"varint,1,opt,name=v" thrift:"1"`
+	Next *Rec196            `json:"next,omitempty" protobuf:"bytes,2,opt,name=next" thrift:"2"`
+	Kids []Rec196           `json:"kids,omitempty" protobuf:"bytes,3,rep,name=kids" thrift:"3"`
+	Peer *Peer196           `json:"peer,omitempty" protobuf:"bytes,4,opt,name=peer" thrift:"4"`
+	S    string             `json:"s,omitempty" protobuf:"bytes,5,opt,name=s" thrift:"5"`
+	X00  int64              `json:"x0,omitempty" protobuf:"varint,20,opt,name=x0" thrift:"20"`
+	X01  int64              `json:"x1,omitempty" protobuf:"varint,21,opt,name=x1" thrift:"21"`
+	X02  int64              `json:"x2,omitempty" protobuf:"varint,22,opt,name=x2" thrift:"22"`
+	X03  int64              `json:"x3,omitempty" protobuf:"varint,23,opt,name=x3" thrift:"23"`
+	X04  int64              `json:"x4,omitempty" protobuf:"varint,24,opt,name=x4" thrift:"24"`
+	X05  int64              `json:"x5,omitempty" protobuf:"varint,25,opt,name=x5" thrift:"25"`
+	X06  int64              `json:"x6,omitempty" protobuf:"varint,26,opt,name=x6" thrift:"26"`
+	X07  int64              `json:"x7,omitempty" protobuf:"varint,27,opt,name=x7" thrift:"27"`
+	X08  int64              `json:"x8,omitempty" protobuf:"varint,28,opt,name=x8" thrift:"28"`
+	X09  int64              `json:"x9,omitempty" protobuf:"varint,29,opt,name=x9" thrift:"29"`
+	X10  int64              `json:"x10,omitempty" protobuf:"varint,30,opt,name=x10" thrift:"30"`
+	X11  int64              `json:"x11,omitempty" protobuf:"varint,31,opt,name=x11" thrift:"31"`
+	X12  int64              `json:"x12,omitempty" protobuf:"varint,32,opt,name=x12" thrift:"32"`
+	X13  int64              `json:"x13,omitempty" protobuf:"varint,33,opt,name=x13" thrift:"33"`
+	X14  int64              `json:"x14,omitempty" protobuf:"varint,34,opt,name=x14" thrift:"34"`
+	X15  int64              `json:"x15,omitempty" protobuf:"varint,35,opt,name=x15" thrift:"35"`
+	X16  int64              `json:"x16,omitempty" protobuf:"varint,36,opt,name=x16" thrift:"36"`
+	X17  int64              `json:"x17,omitempty" protobuf:"varint,37,opt,name=x17" thrift:"37"`
+	X18  int64              `json:"x18,omitempty" protobuf:"varint,38,opt,name=x18" thrift:"38"`
+	X19  int64              `json:"x19,omitempty" protobuf:"varint,39,opt,name=x19" thrift:"39"`
+	X20  int64              `json:"x20,omitempty" protobuf:"varint,40,opt,name=x20" thrift:"40"`
+	X21  int64              `json:"x21,omitempty" protobuf:"varint,41,opt,name=x21" thrift:"41"`
+	X22  int64              `json:"x22,omitempty" protobuf:"varint,42,opt,name=x22" thrift:"42"`
+	X23  int64              `json:"x23,omitempty" protobuf:"varint,43,opt,name=x23" thrift:"43"`
 }
 
 type Peer196 struct {
@@ -2763,11 +7688,36 @@ type Peer196 struct {
 }
 
 type Rec197 struct {
-	V    int64    `json:"v" protobuf:"varint,1,opt,name=v" thrift:"1"`
-	Next *Rec197  `json:"next,omitempty" protobuf:"bytes,2,opt,name=next" thrift:"2"`
-	Kids []Rec197 `json:"kids,omitempty" protobuf:"bytes,3,rep,name=kids" thrift:"3"`
-	Peer *Peer197 `json:"peer,omitempty" protobuf:"bytes,4,opt,name=peer" thrift:"4"`
-	S    string   `json:"s,omitempty" protobuf:"bytes,5,opt,name=s" thrift:"5"`
+	M    map[string]Peer197 `json:"m,omitempty" protobuf:"bytes,6,rep,name=m" protobuf_key:"bytes,1,opt,name=key" protobuf_val:"bytes,2,opt,name=value" thrift:"6"`
+	V    int64              `json:"v" protobuf:"varint,1,opt,name=v" thrift:"1"`
+	Next *Rec197            `json:"next,omitempty" protobuf:"bytes,2,opt,name=next" thrift:"2"`
+	Kids []Rec197           `json:"kids,omitempty" protobuf:"bytes,3,rep,name=kids" thrift:"3"`
+	Peer *Peer197           `json:"peer,omitempty" protobuf:"bytes,4,opt,name=peer" thrift:"4"`
+	S    string             `json:"s,omitempty" protobuf:"bytes,5,opt,name=s" thrift:"5"`
+	X00  int64              `json:"x0,omitempty" protobuf:"varint,20,opt,name=x0" thrift:"20"`
+	X01  int64              `json:"x1,omitempty" protobuf:"varint,21,opt,name=x1" thrift:"21"`
+	X02  int64              `json:"x2,omitempty" protobuf:"varint,22,opt,name=x2" thrift:"22"`
+	X03  int64              `json:"x3,omitempty" protobuf:"varint,23,opt,name=x3" thrift:"23"`
+	X04  int64              `json:"x4,omitempty" protobuf:"varint,24,opt,name=x4" thrift:"24"`
+	X05  int64              `json:"x5,omitempty" protobuf:"varint,25,opt,name=x5" thrift:"25"`
+	X06  int64              `json:"x6,omitempty" protobuf:"varint,26,opt,name=x6" thrift:"26"`
+	X07  int64              `json:"x7,omitempty" protobuf:"varint,27,opt,name=x7" thrift:"27"`
+	X08  int64              `json:"x8,omitempty" protobuf:"varint,28,opt,name=x8" thrift:"28"`
+	X09  int64              `json:"x9,omitempty" protobuf:"varint,29,opt,name=x9" thrift:"29"`
+	X10  int64              `json:"x10,omitempty" protobuf:"varint,30,opt,name=x10" thrift:"30"`
+	X11  int64              `json:"x11,omitempty" protobuf:"varint,31,opt,name=x11" thrift:"31"`
+	X12  int64              `json:"x12,omitempty" protobuf:"varint,32,opt,name=x12" thrift:"32"`
+	X13  int64              `json:"x13,omitempty" protobuf:"varint,33,opt,name=x13" thrift:"33"`
+	X14  int64              `json:"x14,omitempty" protobuf:"varint,34,opt,name=x14" thrift:"34"`
+	X15  int64              `json:"x15,omitempty" protobuf:"varint,35,opt,name=x15" thrift:"35"`
+	X16  int64              `json:"x16,omitempty" protobuf:"varint,36,opt,name=x16" thrift:"36"`
+	X17  int64              `json:"x17,omitempty" protobuf:"varint,37,opt,name=x17" thrift:"37"`
+	X18  int64              `json:"x18,omitempty" protobuf:"varint,38,opt,name=x18" thrift:"38"`
+	X19  int64              `json:"x19,omitempty" protobuf:"varint,39,opt,name=x19" thrift:"39"`
+	X20  int64              `json:"x20,omitempty" protobuf:"varint,40,opt,name=x20" thrift:"40"`
+	X21  int64              `json:"x21,omitempty" protobuf:"varint,41,opt,name=x21" thrift:"41"`
+	X22  int64              `json:"x22,omitempty" protobuf:"varint,42,opt,name=x22" thrift:"42"`
+	X23  int64              `json:"x23,omitempty" protobuf:"varint,43,opt,name=x23" thrift:"43"`
 }
 
 type Peer197 struct {
@@ -2777,11 +7727,36 @@ type Peer197 struct {
 }
 
 type Rec198 struct {
-	V    int64    `json:"v" protobuf:"varint,1,opt,name=v" thrift:"1"`
-	Next *Rec198  `json:"next,omitempty" protobuf:"bytes,2,opt,name=next" thrift:"2"`
-	Kids []Rec198 `json:"kids,omitempty" protobuf:"bytes,3,rep,name=kids" thrift:"3"`
-	Peer *Peer198 `json:"peer,omitempty" protobuf:"bytes,4,opt,name=peer" thrift:"4"`
-	S    string   `json:"s,omitempty" protobuf:"bytes,5,opt,name=s" thrift:"5"`
+	M    map[string]Peer198 `json:"m,omitempty" protobuf:"bytes,6,rep,name=m" protobuf_key:"bytes,1,opt,name=key" protobuf_val:"bytes,2,opt,name=value" thrift:"6"`
+	V    int64              `json:"v" protobuf:"varint,1,opt,name=v" thrift:"1"`
+	Next *Rec198            `json:"next,omitempty" protobuf:"bytes,2,opt,name=next" thrift:"2"`
+	Kids []Rec198           `json:"kids,omitempty" protobuf:"bytes,3,rep,name=kids" thrift:"3"`
+	Peer *Peer198           `json:"peer,omitempty" protobuf:"bytes,4,opt,name=peer" thrift:"4"`
+	S    string             `json:"s,omitempty" protobuf:"bytes,5,opt,name=s" thrift:"5"`
+	X00  int64              `json:"x0,omitempty" protobuf:"varint,20,opt,name=x0" thrift:"20"`
+	X01  int64              `json:"x1,omitempty" protobuf:"varint,21,opt,name=x1" thrift:"21"`
+	X02  int64              `json:"x2,omitempty" protobuf:"varint,22,opt,name=x2" thrift:"22"`
+	X03  int64              `json:"x3,omitempty" protobuf:"varint,23,opt,name=x3" thrift:"23"`
+	X04  int64              `json:"x4,omitempty" protobuf:"varint,24,opt,name=x4" thrift:"24"`
+	X05  int64              `json:"x5,omitempty" protobuf:"varint,25,opt,name=x5" thrift:"25"`
+	X06  int64              `json:"x6,omitempty" protobuf:"varint,26,opt,name=x6" thrift:"26"`
+	X07  int64              `json:"x7,omitempty" protobuf:"varint,27,opt,name=x7" thrift:"27"`
+	X08  int64              `json:"x8,omitempty" protobuf:"varint,28,opt,name=x8" thrift:"28"`
+	X09  int64              `json:"x9,omitempty" protobuf:"varint,29,opt,name=x9" thrift:"29"`
+	X10  int64              `json:"x10,omitempty" protobuf:"varint,30,opt,name=x10" thrift:"30"`
+	X11  int64              `json:"x11,omitempty" protobuf:"varint,31,opt,name=x11" thrift:"31"`
+	X12  int64              `json:"x12,omitempty" protobuf:"varint,32,opt,name=x12" thrift:"32"`
+	X13  int64              `json:"x13,omitempty" protobuf:"varint,33,opt,name=x13" thrift:"33"`
+	X14  int64              `json:"x14,omitempty" protobuf:"varint,34,opt,name=x14" thrift:"34"`
+	X15  int64              `json:"x15,omitempty" protobuf:"varint,35,opt,name=x15" thrift:"35"`
+	X16  int64              `json:"x16,omitempty" protobuf:"varint,36,opt,name=x16" thrift:"36"`
+	X17  int64              `json:"x17,omitempty" protobuf:"varint,37,opt,name=x17" thrift:"37"`
+	X18  int64              `json:"x18,omitempty" protobuf:"varint,38,opt,name=x18" thrift:"38"`
+	X19  int64              `json:"x19,omitempty" protobuf:"varint,39,opt,name=x19" thrift:"39"`
+	X20  int64              `json:"x20,omitempty" protobuf:"varint,40,opt,name=x20" thrift:"40"`
+	X21  int64              `json:"x21,omitempty" protobuf:"varint,41,opt,name=x21" thrift:"41"`
+	X22  int64              `json:"x22,omitempty" protobuf:"varint,42,opt,name=x22" thrift:"42"`
+	X23  int64              `json:"x23,omitempty" protobuf:"varint,43,opt,name=x23" thrift:"43"`
 }
 
 type Peer198 struct {
@@ -2791,11 +7766,36 @@ type Peer198 struct {
 }
 
 type Rec199 struct {
-	V    int64    `json:"v" protobuf:"varint,1,opt,name=v" thrift:"1"`
-	Next *Rec199  `json:"next,omitempty" protobuf:"bytes,2,opt,name=next" thrift:"2"`
-	Kids []Rec199 `json:"kids,omitempty" protobuf:"bytes,3,rep,name=kids" thrift:"3"`
-	Peer *Peer199 `json:"peer,omitempty" protobuf:"bytes,4,opt,name=peer" thrift:"4"`
-	S    string   `json:"s,omitempty" protobuf:"bytes,5,opt,name=s" thrift:"5"`
+	M    map[string]Peer199 `json:"m,omitempty" protobuf:"bytes,6,rep,name=m" protobuf_key:"bytes,1,opt,name=key" protobuf_val:"bytes,2,opt,name=value" thrift:"6"`
+	V    int64              `json:"v" protobuf:"varint,1,opt,name=v" thrift:"1"`
+	Next *Rec199            `json:"next,omitempty" protobuf:"bytes,2,opt,name=next" thrift:"2"`
+	Kids []Rec199           `json:"kids,omitempty" protobuf:"bytes,3,rep,name=kids" thrift:"3"`
+	Peer *Peer199           `json:"peer,omitempty" protobuf:"bytes,4,opt,name=peer" thrift:"4"`
+	S    string             `json:"s,omitempty" protobuf:"bytes,5,opt,name=s" thrift:"5"`
+	X00  int64              `json:"x0,omitempty" protobuf:"varint,20,opt,name=x0" thrift:"20"`
+	X01  int64              `json:"x1,omitempty" protobuf:"varint,21,opt,name=x1" thrift:"21"`
+	X02  int64              `json:"x2,omitempty" protobuf:"varint,22,opt,name=x2" thrift:"22"`
+	X03  int64              `json:"x3,omitempty" protobuf:"varint,23,opt,name=x3" thrift:"23"`
+	X04  int64              `json:"x4,omitempty" protobuf:"varint,24,opt,name=x4" thrift:"24"`
+	X05  int64              `json:"x5,omitempty" protobuf:"varint,25,opt,name=x5" thrift:"25"`
+	X06  int64              `json:"x6,omitempty" protobuf:"varint,26,opt,name=x6" thrift:"26"`
+	X07  int64              `json:"x7,omitempty" protobuf:"varint,27,opt,name=x7" thrift:"27"`
+	X08  int64              `json:"x8,omitempty" protobuf:"varint,28,opt,name=x8" thrift:"28"`
+	X09  int64              `json:"x9,omitempty" protobuf:"varint,29,opt,name=x9" thrift:"29"`
+	X10  int64              `json:"x10,omitempty" protobuf:"varint,30,opt,name=x10" thrift:"30"`
+	X11  int64              `json:"x11,omitempty" protobuf:"varint,31,opt,name=x11" thrift:"31"`
+	X12  int64              `json:"x12,omitempty" protobuf:"varint,32,opt,name=x12" thrift:"32"`
+	X13  int64              `json:"x13,omitempty" protobuf:"varint,33,opt,name=x13" thrift:"33"`
+	X14  int64              `json:"x14,omitempty" protobuf:"varint,34,opt,name=x14" thrift:"34"`
+	X15  int64              `json:"x15,omitempty" protobuf:"varint,35,opt,name=x15" thrift:"35"`
+	X16  int64              `json:"x16,omitempty" protobuf:"varint,36,opt,name=x16" thrift:"36"`
+	X17  int64              `json:"x17,omitempty" protobuf:"varint,37,opt,name=x17" thrift:"37"`
+	X18  int64              `json:"x18,omitempty" protobuf:"varint,38,opt,name=x18" thrift:"38"`
+	X19  int64              `json:"x19,omitempty" protobuf:"varint,39,opt,name=x19" thrift:"39"`
+	X20  int64              `json:"x20,omitempty" protobuf:"varint,40,opt,name=x20" thrift:"40"`
+	X21  int64              `json:"x21,omitempty" protobuf:"varint,41,opt,name=x21" thrift:"41"`
+	X22  int64              `json:"x22,omitempty" protobuf:"varint,42,opt,name=x22" thrift:"42"`
+	X23  int64              `json:"x23,omitempty" protobuf:"varint,43,opt,name=x23" thrift:"43"`
 }
 
 type Peer199 struct {
@@ -2805,11 +7805,36 @@ type Peer199 struct {
 }
 
 type Rec200 struct {
-	V    int64    `json:"v" protobuf:"varint,1,opt,name=v" thrift:"1"`
-	Next *Rec200  `json:"next,omitempty" protobuf:"bytes,2,opt,name=next" thrift:"2"`
-	Kids []Rec200 `json:"kids,omitempty" protobuf:"bytes,3,rep,name=kids" thrift:"3"`
-	Peer *Peer200 `json:"peer,omitempty" protobuf:"bytes,4,opt,name=peer" thrift:"4"`
-	S    string   `json:"s,omitempty" protobuf:"bytes,5,opt,name=s" thrift:"5"`
+	M    map[string]Peer200 `json:"m,omitempty" protobuf:"bytes,6,rep,name=m" protobuf_key:"bytes,1,opt,name=key" protobuf_val:"bytes,2,opt,name=value" thrift:"6"`
+	V    int64              `json:"v" protobuf:"varint,1,opt,name=v" thrift:"1"`
+	Next *Rec200            `json:"next,omitempty" protobuf:"bytes,2,opt,name=next" thrift:"2"`
+	Kids []Rec200           `json:"kids,omitempty" protobuf:"bytes,3,rep,name=kids" thrift:"3"`
+	Peer *Peer200           `json:"peer,omitempty" protobuf:"bytes,4,opt,name=peer" thrift:"4"`
+	S    string             `json:"s,omitempty" protobuf:"bytes,5,opt,name=s" thrift:"5"`
+	X00  int64              `json:"x0,omitempty" protobuf:"varint,20,opt,name=x0" thrift:"20"`
+	X01  int64              `json:"x1,omitempty" protobuf:"varint,21,opt,name=x1" thrift:"21"`
+	X02  int64              `json:"x2,omitempty" protobuf:"varint,22,opt,name=x2" thrift:"22"`
+	X03  int64              `json:"x3,omitempty" protobuf:"varint,23,opt,name=x3" thrift:"23"`
+	X04  int64              `json:"x4,omitempty" protobuf:"varint,24,opt,name=x4" thrift:"24"`
+	X05  int64              `json:"x5,omitempty" protobuf:"varint,25,opt,name=x5" thrift:"25"`
+	X06  int64              `json:"x6,omitempty" protobuf:"varint,26,opt,name=x6" thrift:"26"`
+	X07  int64              `json:"x7,omitempty" protobuf:"varint,27,opt,name=x7" thrift:"27"`
+	X08  int64              `json:"x8,omitempty" protobuf:"varint,28,opt,name=x8" thrift:"28"`
+	X09  int64              `json:"x9,omitempty" protobuf:"varint,29,opt,name=x9" thrift:"29"`
+	X10  int64              `json:"x10,omitempty" protobuf:"varint,30,opt,name=x10" thrift:"30"`
+	X11  int64              `json:"x11,omitempty" protobuf:"varint,31,opt,name=x11" thrift:"31"`
+	X12  int64              `json:"x12,omitempty" protobuf:"varint,32,opt,name=x12" thrift:"32"`
+	X13  int64              `json:"x13,omitempty" protobuf:"varint,33,opt,name=x13" thrift:"33"`
+	X14  int64              `json:"x14,omitempty" protobuf:"varint,34,opt,name=x14" thrift:"34"`
+	X15  int64              `json:"x15,omitempty" protobuf:"varint,35,opt,name=x15" thrift:"35"`
+	X16  int64              `json:"x16,omitempty" protobuf:"varint,36,opt,name=x16" thrift:"36"`
+	X17  int64              `json:"x17,omitempty" protobuf:"varint,37,opt,name=x17" thrift:"37"`
+	X18  int64              `json:"x18,omitempty" protobuf:"varint,38,opt,name=x18" thrift:"38"`
+	X19  int64              `json:"x19,omitempty" protobuf:"varint,39,opt,name=x19" thrift:"39"`
+	X20  int64              `json:"x20,omitempty" protobuf:"varint,40,opt,name=x20" thrift:"40"`
+	X21  int64              `json:"x21,omitempty" protobuf:"varint,41,opt,name=x21" thrift:"41"`
+	X22  int64              `json:"x22,omitempty" protobuf:"varint,42,opt,name=x22" thrift:"42"`
+	X23  int64              `json:"x23,omitempty" protobuf:"varint,43,opt,name=x23" thrift:"43"`
 }
 
 type Peer200 struct {
@@ -2819,11 +7844,36 @@ type Peer200 struct {
 }
 
 type Rec201 struct {
-	V    int64    `json:"v" protobuf:"varint,1,opt,name=v" thrift:"1"`
-	Next *Rec201  `json:"next,omitempty" protobuf:"bytes,2,opt,name=next" thrift:"2"`
-	Kids []Rec201 `json:"kids,omitempty" protobuf:"bytes,3,rep,name=kids" thrift:"3"`
-	Peer *Peer201 `json:"peer,omitempty" protobuf:"bytes,4,opt,name=peer" thrift:"4"`
-	S    string   `json:"s,omitempty" protobuf:"bytes,5,opt,name=s" thrift:"5"`
+	M    map[string]Peer201 `json:"m,omitempty" protobuf:"bytes,6,rep,name=m" protobuf_key:"bytes,1,opt,name=key" protobuf_val:"bytes,2,opt,name=value" thrift:"6"`
+	V    int64              `json:"v" protobuf:"varint,1,opt,name=v" thrift:"1"`
+	Next *Rec201            `json:"next,omitempty" protobuf:"bytes,2,opt,name=next" thrift:"2"`
+	Kids []Rec201           `json:"kids,omitempty" protobuf:"bytes,3,rep,name=kids" thrift:"3"`
+	Peer *Peer201           `json:"peer,omitempty" protobuf:"bytes,4,opt,name=peer" thrift:"4"`
+	S    string             `json:"s,omitempty" protobuf:"bytes,5,opt,name=s" thrift:"5"`
+	X00  int64              `json:"x0,omitempty" protobuf:"varint,20,opt,name=x0" thrift:"20"`
+	X01  int64              `json:"x1,omitempty" protobuf:"varint,21,opt,name=x1" thrift:"21"`
+	X02  int64              `json:"x2,omitempty" protobuf:"varint,22,opt,name=x2" thrift:"22"`
+	X03  int64              `json:"x3,omitempty" protobuf:"varint,23,opt,name=x3" thrift:"23"`
+	X04  int64              `json:"x4,omitempty" protobuf:"varint,24,opt,name=x4" thrift:"24"`
+	X05  int64              `json:"x5,omitempty" protobuf:"varint,25,opt,name=x5" thrift:"25"`
+	X06  int64              `json:"x6,omitempty" protobuf:"varint,26,opt,name=x6" thrift:"26"`
+	X07  int64              `json:"x7,omitempty" protobuf:"varint,27,opt,name=x7" thrift:"27"`
+	X08  int64              `json:"x8,omitempty" protobuf:"varint,28,opt,name=x8" thrift:"28"`
+	X09  int64              `json:"x9,omitempty" protobuf:"varint,29,opt,name=x9" thrift:"29"`
+	X10  int64              `json:"x10,omitempty" protobuf:"varint,30,opt,name=x10" thrift:"30"`
+	X11  int64              `json:"x11,omitempty" protobuf:"varint,31,opt,name=x11" thrift:"31"`
+	X12  int64              `json:"x12,omitempty" protobuf:"varint,32,opt,name=x12" thrift:"32"`
+	X13  int64              `json:"x13,omitempty" protobuf:"varint,33,opt,name=x13" thrift:"33"`
+	X14  int64              `json:"x14,omitempty" protobuf:"varint,34,opt,name=x14" thrift:"34"`
+	X15  int64              `json:"x15,omitempty" protobuf:"varint,35,opt,name=x15" thrift:"35"`
+	X16  int64              `json:"x16,omitempty" protobuf:"varint,36,opt,name=x16" thrift:"36"`
+	X17  int64              `json:"x17,omitempty" protobuf:"varint,37,opt,name=x17" thrift:"37"`
+	X18  int64              `json:"x18,omitempty" protobuf:"varint,38,opt,name=x18" thrift:"38"`
+	X19  int64              `json:"x19,omitempty" protobuf:"varint,39,opt,name=x19" thrift:"39"`
+	X20  int64              `json:"x20,omitempty" protobuf:"varint,40,opt,name=x20" thrift:"40"`
+	X21  int64              `json:"x21,omitempty" protobuf:"varint,41,opt,name=x21" thrift:"41"`
+	X22  int64              `json:"x22,omitempty" protobuf:"varint,42,opt,name=x22" thrift:"42"`
+	X23  int64              `json:"x23,omitempty" protobuf:"varint,43,opt,name=x23" thrift:"43"`
 }
 
 type Peer201 struct {
@@ -2833,11 +7883,36 @@ type Peer201 struct {
 }
 
 type Rec202 struct {
-	V    int64    `json:"v" protobuf:"varint,1,opt,name=v" thrift:"1"`
-	Next *Rec202  `json:"next,omitempty" protobuf:"bytes,2,opt,name=next" thrift:"2"`
-	Kids []Rec202 `json:"kids,omitempty" protobuf:"bytes,3,rep,name=kids" thrift:"3"`
-	Peer *Peer202 `json:"peer,omitempty" protobuf:"bytes,4,opt,name=peer" thrift:"4"`
-	S    string   `json:"s,omitempty" protobuf:"bytes,5,opt,name=s" thrift:"5"`
+	M    map[string]Peer202 `json:"m,omitempty" protobuf:"bytes,6,rep,name=m" protobuf_key:"bytes,1,opt,name=key" protobuf_val:"bytes,2,opt,name=value" thrift:"6"`
+	V    int64              `json:"v" protobuf:"varint,1,opt,name=v" thrift:"1"`
+	Next *Rec202            `json:"next,omitempty" protobuf:"bytes,2,opt,name=next" thrift:"2"`
+	Kids []Rec202           `json:"kids,omitempty" protobuf:"bytes,3,rep,name=kids" thrift:"3"`
+	Peer *Peer202           `json:"peer,omitempty" protobuf:"bytes,4,opt,name=peer" thrift:"4"`
+	S    string             `json:"s,omitempty" protobuf:"bytes,5,opt,name=s" thrift:"5"`
+	X00  int64              `json:"x0,omitempty" protobuf:"varint,20,opt,name=x0" thrift:"20"`
+	X01  int64              `json:"x1,omitempty" protobuf:"varint,21,opt,name=x1" thrift:"21"`
+	X02  int64              `json:"x2,omitempty" protobuf:"varint,22,opt,name=x2" thrift:"22"`
+	X03  int64              `json:"x3,omitempty" protobuf:"varint,23,opt,name=x3" thrift:"23"`
+	X04  int64              `json:"x4,omitempty" protobuf:"varint,24,opt,name=x4" thrift:"24"`
+	X05  int64              `json:"x5,omitempty" protobuf:"varint,25,opt,name=x5" thrift:"25"`
+	X06  int64              `json:"x6,omitempty" protobuf:"varint,26,opt,name=x6" thrift:"26"`
+	X07  int64              `json:"x7,omitempty" protobuf:"varint,27,opt,name=x7" thrift:"27"`
+	X08  int64              `json:"x8,omitempty" protobuf:"varint,28,opt,name=x8" thrift:"28"`
+	X09  int64              `json:"x9,omitempty" protobuf:"varint,29,opt,name=x9" thrift:"29"`
+	X10  int64              `json:"x10,omitempty" protobuf:"varint,30,opt,name=x10" thrift:"30"`
+	X11  int64              `json:"x11,omitempty" protobuf:"varint,31,opt,name=x11" thrift:"31"`
+	X12  int64              `json:"x12,omitempty" protobuf:"varint,32,opt,name=x12" thrift:"32"`
+	X13  int64              `json:"x13,omitempty" protobuf:"varint,33,opt,name=x13" thrift:"33"`
+	X14  int64              `json:"x14,omitempty" protobuf:"varint,34,opt,name=x14" thrift:"34"`
+	X15  int64              `json:"x15,omitempty" protobuf:"varint,35,opt,name=x15" thrift:"35"`
+	X16  int64              `json:"x16,omitempty" protobuf:"varint,36,opt,name=x16" thrift:"36"`
+	X17  int64              `json:"x17,omitempty" protobuf:"varint,37,opt,name=x17" thrift:"37"`
+	X18  int64              `json:"x18,omitempty" protobuf:"varint,38,opt,name=x18" thrift:"38"`
+	X19  int64              `json:"x19,omitempty" protobuf:"varint,39,opt,name=x19" thrift:"39"`
+	X20  int64              `json:"x20,omitempty" protobuf:"varint,40,opt,name=x20" thrift:"40"`
+	X21  int64              `json:"x21,omitempty" protobuf:"varint,41,opt,name=x21" thrift:"41"`
+	X22  int64              `json:"x22,omitempty" protobuf:"varint,42,opt,name=x22" thrift:"42"`
+	X23  int64              `json:"x23,omitempty" protobuf:"varint,43,opt,name=x23" thrift:"43"`
 }
 
 type Peer202 struct {
@@ -2847,11 +7922,36 @@ type Peer202 struct {
 }
 
 type Rec203 struct {
-	V    int64    `json:"v" protobuf:"varint,1,opt,name=v" thrift:"1"`
-	Next *Rec203  `json:"next,omitempty" protobuf:"bytes,2,opt,name=next" thrift:"2"`
-	Kids []Rec203 `json:"kids,omitempty" protobuf:"bytes,3,rep,name=kids" thrift:"3"`
-	Peer *Peer203 `json:"peer,omitempty" protobuf:"bytes,4,opt,name=peer" thrift:"4"`
-	S    string   `json:"s,omitempty" protobuf:"bytes,5,opt,name=s" thrift:"5"`
+	M    map[string]Peer203 `json:"m,omitempty" protobuf:"bytes,6,rep,name=m" protobuf_key:"bytes,1,opt,name=key" protobuf_val:"bytes,2,opt,name=value" thrift:"6"`
+	V    int64              `json:"v" protobuf:"varint,1,opt,name=v" thrift:"1"`
+	Next *Rec203            `json:"next,omitempty" protobuf:"bytes,2,opt,name=next" thrift:"2"`
+	Kids []Rec203           `json:"kids,omitempty" protobuf:"bytes,3,rep,name=kids" thrift:"3"`
+	Peer *Peer203           `json:"peer,omitempty" protobuf:"bytes,4,opt,name=peer" thrift:"4"`
+	S    string             `json:"s,omitempty" protobuf:"bytes,5,opt,name=s" thrift:"5"`
+	X00  int64              `json:"x0,omitempty" protobuf:"varint,20,opt,name=x0" thrift:"20"`
+	X01  int64              `json:"x1,omitempty" protobuf:"varint,21,opt,name=x1" thrift:"21"`
+	X02  int64              `json:"x2,omitempty" protobuf:"varint,22,opt,name=x2" thrift:"22"`
+	X03  int64              `json:"x3,omitempty" protobuf:"varint,23,opt,name=x3" thrift:"23"`
+	X04  int64              `json:"x4,omitempty" protobuf:"varint,24,opt,name=x4" thrift:"24"`
+	X05  int64              `json:"x5,omitempty" protobuf:"varint,25,opt,name=x5" thrift:"25"`
+	X06  int64              `json:"x6,omitempty" protobuf:"varint,26,opt,name=x6" thrift:"26"`
+	X07  int64              `json:"x7,omitempty" protobuf:"varint,27,opt,name=x7" thrift:"27"`
+	X08  int64              `json:"x8,omitempty" protobuf:"varint,28,opt,name=x8" thrift:"28"`
+	X09  int64              `json:"x9,omitempty" protobuf:"varint,29,opt,name=x9" thrift:"29"`
+	X10  int64              `json:"x10,omitempty" protobuf:"varint,30,opt,name=x10" thrift:"30"`
+	X11  int64              `json:"x11,omitempty" protobuf:"varint,31,opt,name=x11" thrift:"31"`
+	X12  int64              `json:"x12,omitempty" protobuf:"varint,32,opt,name=x12" thrift:"32"`
+	X13  int64              `json:"x13,omitempty" protobuf:"varint,33,opt,name=x13" thrift:"33"`
+	X14  int64              `json:"x14,omitempty" protobuf:"varint,34,opt,name=x14" thrift:"34"`
+	X15  int64              `json:"x15,omitempty" protobuf:"varint,35,opt,name=x15" thrift:"35"`
+	X16  int64              `json:"x16,omitempty" protobuf:"varint,36,opt,name=x16" thrift:"36"`
+	X17  int64              `json:"x17,omitempty" protobuf:"varint,37,opt,name=x17" thrift:"37"`
+	X18  int64              `json:"x18,omitempty" protobuf:"varint,38,opt,name=x18" thrift:"38"`
+	X19  int64              `json:"x19,omitempty" protobuf:"varint,39,opt,name=x19" thrift:"39"`
+	X20  int64              `json:"x20,omitempty" protobuf:"varint,40,opt,name=x20" thrift:"40"`
+	X21  int64              `json:"x21,omitempty" protobuf:"varint,41,opt,name=x21" thrift:"41"`
+	X22  int64              `json:"x22,omitempty" protobuf:"varint,42,opt,name=x22" thrift:"42"`
+	X23  int64              `json:"x23,omitempty" protobuf:"varint,43,opt,name=x23" thrift:"43"`
 }
 
 type Peer203 struct {
@@ -2861,11 +7961,36 @@ type Peer203 struct {
 }
 
 type Rec204 struct {
-	V    int64    `json:"v" protobuf:"varint,1,opt,name=v" thrift:"1"`
-	Next *Rec204  `json:"next,omitempty" protobuf:"bytes,2,opt,name=next" thrift:"2"`
-	Kids []Rec204 `json:"kids,omitempty" protobuf:"bytes,3,rep,name=kids" thrift:"3"`
-	Peer *Peer204 `json:"peer,omitempty" protobuf:"bytes,4,opt,name=peer" thrift:"4"`
-	S    string   `json:"s,omitempty" protobuf:"bytes,5,opt,name=s" thrift:"5"`
+	M    map[string]Peer204 `json:"m,omitempty" protobuf:"bytes,6,rep,name=m" protobuf_key:"bytes,1,opt,name=key" protobuf_val:"bytes,2,opt,name=value" thrift:"6"`
+	V    int64              `json:"v" protobuf:"varint,1,opt,name=v" thrift:"1"`
+	Next *Rec204            `json:"next,omitempty" protobuf:"bytes,2,opt,name=next" thrift:"2"`
+	Kids []Rec204           `json:"kids,omitempty" protobuf:"bytes,3,rep,name=kids" thrift:"3"`
+	Peer *Peer204           `json:"peer,omitempty" protobuf:"bytes,4,opt,name=peer" thrift:"4"`
+	S    string             `json:"s,omitempty" protobuf:"bytes,5,opt,name=s" thrift:"5"`
+	X00  int64              `json:"x0,omitempty" protobuf:"varint,20,opt,name=x0" thrift:"20"`
+	X01  int64              `json:"x1,omitempty" protobuf:"varint,21,opt,name=x1" thrift:"21"`
+	X02  int64              `json:"x2,omitempty" protobuf:"varint,22,opt,name=x2" thrift:"22"`
+	X03  int64              `json:"x3,omitempty" protobuf:"varint,23,opt,name=x3" thrift:"23"`
+	X04  int64              `json:"x4,omitempty" protobuf:"varint,24,opt,name=x4" thrift:"24"`
+	X05  int64              `json:"x5,omitempty" protobuf:"varint,25,opt,name=x5" thrift:"25"`
+	X06  int64              `json:"x6,omitempty" protobuf:"varint,26,opt,name=x6" thrift:"26"`
+	X07  int64              `json:"x7,omitempty" protobuf:"varint,27,opt,name=x7" thrift:"27"`
+	X08  int64              `json:"x8,omitempty" protobuf:"varint,28,opt,name=x8" thrift:"28"`
+	X09  int64              `json:"x9,omitempty" protobuf:"varint,29,opt,name=x9" thrift:"29"`
+	X10  int64              `json:"x10,omitempty" protobuf:"varint,30,opt,name=x10" thrift:"30"`
+	X11  int64              `json:"x11,omitempty" protobuf:"varint,31,opt,name=x11" thrift:"31"`
+	X12  int64              `json:"x12,omitempty" protobuf:"varint,32,opt,name=x12" thrift:"32"`
+	X13  int64              `json:"x13,omitempty" protobuf:"varint,33,opt,name=x13" thrift:"33"`
+	X14  int64              `json:"x14,omitempty" protobuf:"varint,34,opt,name=x14" thrift:"34"`
+	X15  int64              `json:"x15,omitempty" protobuf:"varint,35,opt,name=x15" thrift:"35"`
+	X16  int64              `json:"x16,omitempty" protobuf:"varint,36,opt,name=x16" thrift:"36"`
+	X17  int64              `json:"x17,omitempty" protobuf:"varint,37,opt,name=x17" thrift:"37"`
+	X18  int64              `json:"x18,omitempty" protobuf:"varint,38,opt,name=x18" thrift:"38"`
+	X19  int64              `json:"x19,omitempty" protobuf:"varint,39,opt,name=x19" thrift:"39"`
+	X20  int64              `json:"x20,omitempty" protobuf:"varint,40,opt,name=x20" thrift:"40"`
+	X21  int64              `json:"x21,omitempty" protobuf:"varint,41,opt,name=x21" thrift:"41"`
+	X22  int64              `json:"x22,omitempty" protobuf:"varint,42,opt,name=x22" thrift:"42"`
+	X23  int64              `json:"x23,omitempty" protobuf:"varint,43,opt,name=x23" thrift:"43"`
 }
 
 type Peer204 struct {
@@ -2875,11 +8000,36 @@ type Peer204 struct {
 }
 
 type Rec205 struct {
-	V    int64    `json:"v" protobuf:"varint,1,opt,name=v" thrift:"1"`
-	Next *Rec205  `json:"next,omitempty" protobuf:"bytes,2,opt,name=next" thrift:"2"`
-	Kids []Rec205 `json:"kids,omitempty" protobuf:"bytes,3,rep,name=kids" thrift:"3"`
-	Peer *Peer205 `json:"peer,omitempty" protobuf:"bytes,4,opt,name=peer" thrift:"4"`
-	S    string   `json:"s,omitempty" protobuf:"bytes,5,opt,name=s" thrift:"5"`
+	M    map[string]Peer205 `json:"m,omitempty" protobuf:"bytes,6,rep,name=m" protobuf_key:"bytes,1,opt,name=key" protobuf_val:"bytes,2,opt,name=value" thrift:"6"`
+	V    int64              `json:"v" protobuf:"varint,1,opt,name=v" thrift:"1"`
+	Next *Rec205            `json:"next,omitempty" protobuf:"bytes,2,opt,name=next" thrift:"2"`
+	Kids []Rec205           `json:"kids,omitempty" protobuf:"bytes,3,rep,name=kids" thrift:"3"`
+	Peer *Peer205           `json:"peer,omitempty" protobuf:"bytes,4,opt,name=peer" thrift:"4"`
+	S    string             `json:"s,omitempty" protobuf:"bytes,5,opt,name=s" thrift:"5"`
+	X00  int64              `json:"x0,omitempty" protobuf:"varint,20,opt,name=x0" thrift:"20"`
+	X01  int64              `json:"x1,omitempty" protobuf:"varint,21,opt,name=x1" thrift:"21"`
+	X02  int64              `json:"x2,omitempty" protobuf:"varint,22,opt,name=x2" thrift:"22"`
+	X03  int64              `json:"x3,omitempty" protobuf:"varint,23,opt,name=x3" thrift:"23"`
+	X04  int64              `json:"x4,omitempty" protobuf:"varint,24,opt,name=x4" thrift:"24"`
+	X05  int64              `json:"x5,omitempty" protobuf:"varint,25,opt,name=x5" thrift:"25"`
+	X06  int64              `json:"x6,omitempty" protobuf:"varint,26,opt,name=x6" thrift:"26"`
+	X07  int64              `json:"x7,omitempty" protobuf:"varint,27,opt,name=x7" thrift:"27"`
+	X08  int64              `json:"x8,omitempty" protobuf:"varint,28,opt,name=x8" thrift:"28"`
+	X09  int64              `json:"x9,omitempty" protobuf:"varint,29,opt,name=x9" thrift:"29"`
+	X10  int64              `json:"x10,omitempty" protobuf:"varint,30,opt,name=x10" thrift:"30"`
+	X11  int64              `json:"x11,omitempty" protobuf:"varint,31,opt,name=x11" thrift:"31"`
+	X12  int64              `json:"x12,omitempty" protobuf:"varint,32,opt,name=x12" thrift:"32"`
+	X13  int64              `json:"x13,omitempty" protobuf:"varint,33,opt,name=x13" thrift:"33"`
+	X14  int64              `json:"x14,omitempty" protobuf:"varint,34,opt,name=x14" thrift:"34"`
+	X15  int64              `json:"x15,omitempty" protobuf:"varint,35,opt,name=x15" thrift:"35"`
+	X16  int64              `json:"x16,omitempty" protobuf:"varint,36,opt,name=x16" thrift:"36"`
+	X17  int64              `json:"x17,omitempty" protobuf:"varint,37,opt,name=x17" thrift:"37"`
+	X18  int64              `json:"x18,omitempty" protobuf:"varint,38,opt,name=x18" thrift:"38"`
+	X19  int64              `json:"x19,omitempty" protobuf:"varint,39,opt,name=x19" thrift:"39"`
+	X20  int64              `json:"x20,omitempty" protobuf:"varint,40,opt,name=x20" thrift:"40"`
+	X21  int64              `json:"x21,omitempty" protobuf:"varint,41,opt,name=x21" thrift:"41"`
+	X22  int64              `json:"x22,omitempty" protobuf:"varint,42,opt,name=x22" thrift:"42"`
+	X23  int64              `json:"x23,omitempty" protobuf:"varint,43,opt,name=x23" thrift:"43"`
 }
 
 type Peer205 struct {
@@ -2889,11 +8039,36 @@ type Peer205 struct {
 }
 
 type Rec206 struct {
-	V    int64    `json:"v" protobuf:"varint,1,opt,name=v" thrift:"1"`
-	Next *Rec206  `json:"next,omitempty" protobuf:"bytes,2,opt,name=next" thrift:"2"`
-	Kids []Rec206 `json:"kids,omitempty" protobuf:"bytes,3,rep,name=kids" thrift:"3"`
-	Peer *Peer206 `json:"peer,omitempty" protobuf:"bytes,4,opt,name=peer" thrift:"4"`
-	S    string   `json:"s,omitempty" protobuf:"bytes,5,opt,name=s" thrift:"5"`
+	M    map[string]Peer206 `json:"m,omitempty" protobuf:"bytes,6,rep,name=m" protobuf_key:"bytes,1,opt,name=key" protobuf_val:"bytes,2,opt,name=value" thrift:"6"`
+	V    int64              `json:"v" protobuf:"varint,1,opt,name=v" thrift:"1"`
+	Next *Rec206            `json:"next,omitempty" protobuf:"bytes,2,opt,name=next" thrift:"2"`
+	Kids []Rec206           `json:"kids,omitempty" protobuf:"bytes,3,rep,name=kids" thrift:"3"`
+	Peer *Peer206           `json:"peer,omitempty" protobuf:"bytes,4,opt,name=peer" thrift:"4"`
+	S    string             `json:"s,omitempty" protobuf:"bytes,5,opt,name=s" thrift:"5"`
+	X00  int64              `json:"x0,omitempty" protobuf:"varint,20,opt,name=x0" thrift:"20"`
+	X01  int64              `json:"x1,omitempty" protobuf:"varint,21,opt,name=x1" thrift:"21"`
+	X02  int64              `json:"x2,omitempty" protobuf:"varint,22,opt,name=x2" thrift:"22"`
+	X03  int64              `json:"x3,omitempty" protobuf:"varint,23,opt,name=x3" thrift:"23"`
+	X04  int64              `json:"x4,omitempty" protobuf:"varint,24,opt,name=x4" thrift:"24"`
+	X05  int64              `json:"x5,omitempty" protobuf:"varint,25,opt,name=x5" thrift:"25"`
+	X06  int64              `json:"x6,omitempty" protobuf:"varint,26,opt,name=x6" thrift:"26"`
+	X07  int64              `json:"x7,omitempty" protobuf:"varint,27,opt,name=x7" thrift:"27"`
+	X08  int64              `json:"x8,omitempty" protobuf:"varint,28,opt,name=x8" thrift:"28"`
+	X09  int64              `json:"x9,omitempty" protobuf:"varint,29,opt,name=x9" thrift:"29"`
+	X10  int64              `json:"x10,omitempty" protobuf:"varint,30,opt,name=x10" thrift:"30"`
+	X11  int64              `json:"x11,omitempty" protobuf:"varint,31,opt,name=x11" thrift:"31"`
+	X12  int64              `json:"x12,omitempty" protobuf:"varint,32,opt,name=x12" thrift:"32"`
+	X13  int64              `json:"x13,omitempty" protobuf:"varint,33,opt,name=x13" thrift:"33"`
+	X14  int64              `json:"x14,omitempty" protobuf:"varint,34,opt,name=x14" thrift:"34"`
+	X15  int64              `json:"x15,omitempty" protobuf:"varint,35,opt,name=x15" thrift:"35"`
+	X16  int64              `json:"x16,omitempty" protobuf:"varint,36,opt,name=x16" thrift:"36"`
+	X17  int64              `json:"x17,omitempty" protobuf:"varint,37,opt,name=x17" thrift:"37"`
+	X18  int64              `json:"x18,omitempty" protobuf:"varint,38,opt,name=x18" thrift:"38"`
+	X19  int64              `json:"x19,omitempty" protobuf:"varint,39,opt,name=x19" thrift:"39"`
+	X20  int64              `json:"x20,omitempty" protobuf:"varint,40,opt,name=x20" thrift:"40"`
+	X21  int64              `json:"x21,omitempty" protobuf:"varint,41,opt,name=x21" thrift:"41"`
+	X22  int64              `json:"x22,omitempty" protobuf:"varint,42,opt,name=x22" thrift:"42"`
+	X23  int64              `json:"x23,omitempty" protobuf:"varint,43,opt,name=x23" thrift:"43"`
 }
 
 type Peer206 struct {
@@ -2903,11 +8078,36 @@ type Peer206 struct {
 }
 
 type Rec207 struct {
-	V    int64    `json:"v" protobuf:"varint,1,opt,name=v" thrift:"1"`
-	Next *Rec207  `json:"next,omitempty" protobuf:"bytes,2,opt,name=next" thrift:"2"`
-	Kids []Rec207 `json:"kids,omitempty" protobuf:"bytes,3,rep,name=kids" thrift:"3"`
-	Peer *Peer207 `json:"peer,omitempty" protobuf:"bytes,4,opt,name=peer" thrift:"4"`
-	S    string   `json:"s,omitempty" protobuf:"bytes,5,opt,name=s" thrift:"5"`
+	M    map[string]Peer207 `json:"m,omitempty" protobuf:"bytes,6,rep,name=m" protobuf_key:"bytes,1,opt,name=key" protobuf_val:"bytes,2,opt,name=value" thrift:"6"`
+	V    int64              `json:"v" protobuf:"varint,1,opt,name=v" thrift:"1"`
+	Next *Rec207            `json:"next,omitempty" protobuf:"bytes,2,opt,name=next" thrift:"2"`
+	Kids []Rec207           `json:"kids,omitempty" protobuf:"bytes,3,rep,name=kids" thrift:"3"`
+	Peer *Peer207           `json:"peer,omitempty" protobuf:"bytes,4,opt,name=peer" thrift:"4"`
+	S    string             `json:"s,omitempty" protobuf:"bytes,5,opt,name=s" thrift:"5"`
+	X00  int64              `json:"x0,omitempty" protobuf:"varint,20,opt,name=x0" thrift:"20"`
+	X01  int64              `json:"x1,omitempty" protobuf:"varint,21,opt,name=x1" thrift:"21"`
+	X02  int64              `json:"x2,omitempty" protobuf:"varint,22,opt,name=x2" thrift:"22"`
+	X03  int64              `json:"x3,omitempty" protobuf:"varint,23,opt,name=x3" thrift:"23"`
+	X04  int64              `json:"x4,omitempty" protobuf:"varint,24,opt,name=x4" thrift:"24"`
+	X05  int64              `json:"x5,omitempty" protobuf:"varint,25,opt,name=x5" thrift:"25"`
+	X06  int64              `json:"x6,omitempty" protobuf:"varint,26,opt,name=x6" thrift:"26"`
+	X07  int64              `json:"x7,omitempty" protobuf:"varint,27,opt,name=x7" thrift:"27"`
+	X08  int64              `json:"x8,omitempty" protobuf:"varint,28,opt,name=x8" thrift:"28"`
+	X09  int64              `json:"x9,omitempty" protobuf:"varint,29,opt,name=x9" thrift:"29"`
+	X10  int64              `json:"x10,omitempty" protobuf:"varint,30,opt,name=x10" thrift:"30"`
+	X11  int64              `json:"x11,omitempty" protobuf:"varint,31,opt,name=x11" thrift:"31"`
+	X12  int64              `json:"x12,omitempty" protobuf:"varint,32,opt,name=x12" thrift:"32"`
+	X13  int64              `json:"x13,omitempty" protobuf:"varint,33,opt,name=x13" thrift:"33"`
+	X14  int64              `json:"x14,omitempty" protobuf:"varint,34,opt,name=x14" thrift:"34"`
+	X15  int64              `json:"x15,omitempty" protobuf:"varint,35,opt,name=x15" thrift:"35"`
+	X16  int64              `json:"x16,omitempty" protobuf:"varint,36,opt,name=x16" thrift:"36"`
+	X17  int64              `json:"x17,omitempty" protobuf:"varint,37,opt,name=x17" thrift:"37"`
+	X18  int64              `json:"x18,omitempty" protobuf:"varint,38,opt,name=x18" thrift:"38"`
+	X19  int64              `json:"x19,omitempty" protobuf:"varint,39,opt,name=x19" thrift:"39"`
+	X20  int64              `json:"x20,omitempty" protobuf:"varint,40,opt,name=x20" thrift:"40"`
+	X21  int64              `json:"x21,omitempty" protobuf:"varint,41,opt,name=x21" thrift:"41"`
+	X22  int64              `json:"x22,omitempty" protobuf:"varint,42,opt,name=x22" thrift:"42"`
+	X23  int64              `json:"x23,omitempty" protobuf:"varint,43,opt,name=x23" thrift:"43"`
 }
 
 type Peer207 struct {
@@ -2917,11 +8117,36 @@ type Peer207 struct {
 }
 
 type Rec208 struct {
-	V    int64    `json:"v" protobuf:"varint,1,opt,name=v" thrift:"1"`
-	Next *Rec208  `json:"next,omitempty" protobuf:"bytes,2,opt,name=next" thrift:"2"`
-	Kids []Rec208 `json:"kids,omitempty" protobuf:"bytes,3,rep,name=kids" thrift:"3"`
-	Peer *Peer208 `json:"peer,omitempty" protobuf:"bytes,4,opt,name=peer" thrift:"4"`
-	S    string   `json:"s,omitempty" protobuf:"bytes,5,opt,name=s" thrift:"5"`
+	M    map[string]Peer208 `json:"m,omitempty" protobuf:"bytes,6,rep,name=m" protobuf_key:"bytes,1,opt,name=key" protobuf_val:"bytes,2,opt,name=value" thrift:"6"`
+	V    int64              `json:"v" protobuf:"varint,1,opt,name=v" thrift:"1"`
+	Next *Rec208            `json:"next,omitempty" protobuf:"bytes,2,opt,name=next" thrift:"2"`
+	Kids []Rec208           `json:"kids,omitempty" protobuf:"bytes,3,rep,name=kids" thrift:"3"`
+	Peer *Peer208           `json:"peer,omitempty" protobuf:"bytes,4,opt,name=peer" thrift:"4"`
+	S    string             `json:"s,omitempty" protobuf:"bytes,5,opt,name=s" thrift:"5"`
+	X00  int64              `json:"x0,omitempty" protobuf:"varint,20,opt,name=x0" thrift:"20"`
+	X01  int64              `json:"x1,omitempty" protobuf:"varint,21,opt,name=x1" thrift:"21"`
+	X02  int64              `json:"x2,omitempty" protobuf:"varint,22,opt,name=x2" thrift:"22"`
+	X03  int64              `json:"x3,omitempty" protobuf:"varint,23,opt,name=x3" thrift:"23"`
+	X04  int64              `json:"x4,omitempty" protobuf:"varint,24,opt,name=x4" thrift:"24"`
+	X05  int64              `json:"x5,omitempty" protobuf:"varint,25,opt,name=x5" thrift:"25"`
+	X06  int64              `json:"x6,omitempty" protobuf:"varint,26,opt,name=x6" thrift:"26"`
+	X07  int64              `json:"x7,omitempty" protobuf:"varint,27,opt,name=x7" thrift:"27"`
+	X08  int64              `json:"x8,omitempty" protobuf:"varint,28,opt,name=x8" thrift:"28"`
+	X09  int64              `json:"x9,omitempty" protobuf:"varint,29,opt,name=x9" thrift:"29"`
+	X10  int64              `json:"x10,omitempty" protobuf:"varint,30,opt,name=x10" thrift:"30"`
+	X11  int64              `json:"x11,omitempty" protobuf:"varint,31,opt,name=x11" thrift:"31"`
+	X12  int64              `json:"x12,omitempty" protobuf:"varint,32,opt,name=x12" thrift:"32"`
+	X13  int64              `json:"x13,omitempty" protobuf:"varint,33,opt,name=x13" thrift:"33"`
+	X14  int64              `json:"x14,omitempty" protobuf:"varint,34,opt,name=x14" thrift:"34"`
+	X15  int64              `json:"x15,omitempty" protobuf:"varint,35,opt,name=x15" thrift:"35"`
+	X16  int64              `json:"x16,omitempty" protobuf:"varint,36,opt,name=x16" thrift:"36"`
+	X17  int64              `json:"x17,omitempty" protobuf:"varint,37,opt,name=x17" thrift:"37"`
+	X18  int64              `json:"x18,omitempty" protobuf:"varint,38,opt,name=x18" thrift:"38"`
+	X19  int64              `json:"x19,omitempty" protobuf:"varint,39,opt,name=x19" thrift:"39"`
+	X20  int64              `json:"x20,omitempty" protobuf:"varint,40,opt,name=x20" thrift:"40"`
+	X21  int64              `json:"x21,omitempty" protobuf:"varint,41,opt,name=x21" thrift:"41"`
+	X22  int64              `json:"x22,omitempty" protobuf:"varint,42,opt,name=x22" thrift:"42"`
+	X23  int64              `json:"x23,omitempty" protobuf:"varint,43,opt,name=x23" thrift:"43"`
 }
 
 type Peer208 struct {
@@ -2931,11 +8156,36 @@ type Peer208 struct {
 }
 
 type Rec209 struct {
-	V    int64    `json:"v" protobuf:"varint,1,opt,name=v" thrift:"1"`
-	Next *Rec209  `json:"next,omitempty" protobuf:"bytes,2,opt,name=next" thrift:"2"`
-	Kids []Rec209 `json:"kids,omitempty" protobuf:"bytes,3,rep,name=kids" thrift:"3"`
-	Peer *Peer209 `json:"peer,omitempty" protobuf:"bytes,4,opt,name=peer" thrift:"4"`
-	S    string   `json:"s,omitempty" protobuf:"bytes,5,opt,name=s" thrift:"5"`
+	M    map[string]Peer209 `json:"m,omitempty" protobuf:"bytes,6,rep,name=m" protobuf_key:"bytes,1,opt,name=key" protobuf_val:"bytes,2,opt,name=value" thrift:"6"`
+	V    int64              `json:"v" protobuf:"varint,1,opt,name=v" thrift:"1"`
+	Next *Rec209            `json:"next,omitempty" protobuf:"bytes,2,opt,name=next" thrift:"2"`
+	Kids []Rec209           `json:"kids,omitempty" protobuf:"bytes,3,rep,name=kids" thrift:"3"`
+	Peer *Peer209           `json:"peer,omitempty" protobuf:"bytes,4,opt,name=peer" thrift:"4"`
+	S    string             `json:"s,omitempty" protobuf:"bytes,5,opt,name=s" thrift:"5"`
+	X00  int64              `json:"x0,omitempty" protobuf:"varint,20,opt,name=x0" thrift:"20"`
+	X01  int64              `json:"x1,omitempty" protobuf:"varint,21,opt,name=x1" thrift:"21"`
+	X02  int64              `json:"x2,omitempty" protobuf:"varint,22,opt,name=x2" thrift:"22"`
+	X03  int64              `json:"x3,omitempty" protobuf:"varint,23,opt,name=x3" thrift:"23"`
+	X04  int64              `json:"x4,omitempty" protobuf:"varint,24,opt,name=x4" thrift:"24"`
+	X05  int64              `json:"x5,omitempty" protobuf:"varint,25,opt,name=x5" thrift:"25"`
+	X06  int64              `json:"x6,omitempty" protobuf:"varint,26,opt,name=x6" thrift:"26"`
+	X07  int64              `json:"x7,omitempty" protobuf:"varint,27,opt,name=x7" thrift:"27"`
+	X08  int64              `json:"x8,omitempty" protobuf:"varint,28,opt,name=x8" thrift:"28"`
+	X09  int64              `json:"x9,omitempty" protobuf:"varint,29,opt,name=x9" thrift:"29"`
+	X10  int64              `json:"x10,omitempty" protobuf:"varint,30,opt,name=x10" thrift:"30"`
+	X11  int64              `json:"x11,omitempty" protobuf:"varint,31,opt,name=x11" thrift:"31"`
+	X12  int64              `json:"x12,omitempty" protobuf:"varint,32,opt,name=x12" thrift:"32"`
+	X13  int64              `json:"x13,omitempty" protobuf:"varint,33,opt,name=x13" thrift:"33"`
+	X14  int64              `json:"x14,omitempty" protobuf:"varint,34,opt,name=x14" thrift:"34"`
+	X15  int64              `json:"x15,omitempty" protobuf:"varint,35,opt,name=x15" thrift:"35"`
+	X16  int64              `json:"x16,omitempty" protobuf:"varint,36,opt,name=x16" thrift:"36"`
+	X17  int64              `json:"x17,omitempty" protobuf:"varint,37,opt,name=x17" thrift:"37"`
+	X18  int64              `json:"x18,omitempty" protobuf:"varint,38,opt,name=x18" thrift:"38"`
+	X19  int64              `json:"x19,omitempty" protobuf:"varint,39,opt,name=x19" thrift:"39"`
+	X20  int64              `json:"x20,omitempty" protobuf:"varint,40,opt,name=x20" thrift:"40"`
+	X21  int64              `json:"x21,omitempty" protobuf:"varint,41,opt,name=x21" thrift:"41"`
+	X22  int64              `json:"x22,omitempty" protobuf:"varint,42,opt,name=x22" thrift:"42"`
+	X23  int64              `json:"x23,omitempty" protobuf:"varint,43,opt,name=x23" thrift:"43"`
 }
 
 type Peer209 struct {
@@ -2945,11 +8195,36 @@ type Peer209 struct {
 }
 
 type Rec210 struct {
-	V    int64    `json:"v" protobuf:"varint,1,opt,name=v" thrift:"1"`
-	Next *Rec210  `json:"next,omitempty" protobuf:"bytes,2,opt,name=next" thrift:"2"`
-	Kids []Rec210 `json:"kids,omitempty" protobuf:"bytes,3,rep,name=kids" thrift:"3"`
-	Peer *Peer210 `json:"peer,omitempty" protobuf:"bytes,4,opt,name=peer" thrift:"4"`
-	S    string   `json:"s,omitempty" protobuf:"bytes,5,opt,name=s" thrift:"5"`
+	M    map[string]Peer210 `json:"m,omitempty" protobuf:"bytes,6,rep,name=m" protobuf_key:"bytes,1,opt,name=key" protobuf_val:"bytes,2,opt,name=value" thrift:"6"`
+	V    int64              `json:"v" protobuf:"varint,1,opt,name=v" thrift:"1"`
+	Next *Rec210            `json:"next,omitempty" protobuf:"bytes,2,opt,name=next" thrift:"2"`
+	Kids []Rec210           `json:"kids,omitempty" protobuf:"bytes,3,rep,name=kids" thrift:"3"`
+	Peer *Peer210           `json:"peer,omitempty" protobuf:"bytes,4,opt,name=peer" thrift:"4"`
+	S    string             `json:"s,omitempty" protobuf:"bytes,5,opt,name=s" thrift:"5"`
+	X00  int64              `json:"x0,omitempty" protobuf:"varint,20,opt,name=x0" thrift:"20"`
+	X01  int64              `json:"x1,omitempty" protobuf:"varint,21,opt,name=x1" thrift:"21"`
+	X02  int64              `json:"x2,omitempty" protobuf:"varint,22,opt,name=x2" thrift:"22"`
+	X03  int64              `json:"x3,omitempty" protobuf:"varint,23,opt,name=x3" thrift:"23"`
+	X04  int64              `json:"x4,omitempty" protobuf:"varint,24,opt,name=x4" thrift:"24"`
+	X05  int64              `json:"x5,omitempty" protobuf:"varint,25,opt,name=x5" thrift:"25"`
+	X06  int64              `json:"x6,omitempty" protobuf:"varint,26,opt,name=x6" thrift:"26"`
+	X07  int64              `json:"x7,omitempty" protobuf:"varint,27,opt,name=x7" thrift:"27"`
+	X08  int64              `json:"x8,omitempty" protobuf:"varint,28,opt,name=x8" thrift:"28"`
+	X09  int64              `json:"x9,omitempty" protobuf:"varint,29,opt,name=x9" thrift:"29"`
+	X10  int64              `json:"x10,omitempty" protobuf:"varint,30,opt,name=x10" thrift:"30"`
+	X11  int64              `json:"x11,omitempty" protobuf:"varint,31,opt,name=x11" thrift:"31"`
+	X12  int64              `json:"x12,omitempty" protobuf:"varint,32,opt,name=x12" thrift:"32"`
+	X13  int64              `json:"x13,omitempty" protobuf:"varint,33,opt,name=x13" thrift:"33"`
+	X14  int64              `json:"x14,omitempty" protobuf:"varint,34,opt,name=x14" thrift:"34"`
+	X15  int64              `json:"x15,omitempty" protobuf:"varint,35,opt,name=x15" thrift:"35"`
+	X16  int64              `json:"x16,omitempty" protobuf:"varint,36,opt,name=x16" thrift:"36"`
+	X17  int64              `json:"x17,omitempty" protobuf:"varint,37,opt,name=x17" thrift:"37"`
+	X18  int64              `json:"x18,omitempty" protobuf:"varint,38,opt,name=x18" thrift:"38"`
+	X19  int64              `json:"x19,omitempty" protobuf:"varint,39,opt,name=x19" thrift:"39"`
+	X20  int64              `json:"x20,omitempty" protobuf:"varint,40,opt,name=x20" thrift:"40"`
+	X21  int64              `json:"x21,omitempty" protobuf:"varint,41,opt,name=x21" thrift:"41"`
+	X22  int64              `json:"x22,omitempty" protobuf:"varint,42,opt,name=x22" thrift:"42"`
+	X23  int64              `json:"x23,omitempty" protobuf:"varint,43,opt,name=x23" thrift:"43"`
 }
 
 type Peer210 struct {
@@ -2959,11 +8234,36 @@ type Peer210 struct {
 }
 
 type Rec211 struct {
-	V    int64    `json:"v" protobuf:"varint,1,opt,name=v" thrift:"1"`
-	Next *Rec211  `json:"next,omitempty" protobuf:"bytes,2,opt,name=next" thrift:"2"`
-	Kids []Rec211 `json:"kids,omitempty" protobuf:"bytes,3,rep,name=kids" thrift:"3"`
-	Peer *Peer211 `json:"peer,omitempty" protobuf:"bytes,4,opt,name=peer" thrift:"4"`
-	S    string   `json:"s,omitempty" protobuf:"bytes,5,opt,name=s" thrift:"5"`
+	M    map[string]Peer211 `json:"m,omitempty" protobuf:"bytes,6,rep,name=m" protobuf_key:"bytes,1,opt,name=key" protobuf_val:"bytes,2,opt,name=value" thrift:"6"`
+	V    int64              `json:"v" protobuf:"varint,1,opt,name=v" thrift:"1"`
+	Next *Rec211            `json:"next,omitempty" protobuf:"bytes,2,opt,name=next" thrift:"2"`
+	Kids []Rec211           `json:"kids,omitempty" protobuf:"bytes,3,rep,name=kids" thrift:"3"`
+	Peer *Peer211           `json:"peer,omitempty" protobuf:"bytes,4,opt,name=peer" thrift:"4"`
+	S    string             `json:"s,omitempty" protobuf:"bytes,5,opt,name=s" thrift:"5"`
+	X00  int64              `json:"x0,omitempty" protobuf:"varint,20,opt,name=x0" thrift:"20"`
+	X01  int64              `json:"x1,omitempty" protobuf:"varint,21,opt,name=x1" thrift:"21"`
+	X02  int64              `json:"x2,omitempty" protobuf:"varint,22,opt,name=x2" thrift:"22"`
+	X03  int64              `json:"x3,omitempty" protobuf:"varint,23,opt,name=x3" thrift:"23"`
+	X04  int64              `json:"x4,omitempty" protobuf:"varint,24,opt,name=x4" thrift:"24"`
+	X05  int64              `json:"x5,omitempty" protobuf:"varint,25,opt,name=x5" thrift:"25"`
+	X06  int64              `json:"x6,omitempty" protobuf:"varint,26,opt,name=x6" thrift:"26"`
+	X07  int64              `json:"x7,omitempty" protobuf:"varint,27,opt,name=x7" thrift:"27"`
+	X08  int64              `json:"x8,omitempty" protobuf:"varint,28,opt,name=x8" thrift:"28"`
+	X09  int64              `json:"x9,omitempty" protobuf:"varint,29,opt,name=x9" thrift:"29"`
+	X10  int64              `json:"x10,omitempty" protobuf:"varint,30,opt,name=x10" thrift:"30"`
+	X11  int64              `json:"x11,omitempty" protobuf:"varint,31,opt,name=x11" thrift:"31"`
+	X12  int64              `json:"x12,omitempty" protobuf:"varint,32,opt,name=x12" thrift:"32"`
+	X13  int64              `json:"x13,omitempty" protobuf:"varint,33,opt,name=x13" thrift:"33"`
+	X14  int64              `json:"x14,omitempty" protobuf:"varint,34,opt,name=x14" thrift:"34"`
+	X15  int64              `json:"x15,omitempty" protobuf:"varint,35,opt,name=x15" thrift:"35"`
+	X16  int64              `json:"x16,omitempty" protobuf:"varint,36,opt,name=x16" thrift:"36"`
+	X17  int64              `json:"x17,omitempty" protobuf:"varint,37,opt,name=x17" thrift:"37"`
+	X18  int64              `json:"x18,omitempty" protobuf:"varint,38,opt,name=x18" thrift:"38"`
+	X19  int64              `json:"x19,omitempty" protobuf:"varint,39,opt,name=x19" thrift:"39"`
+	X20  int64              `json:"x20,omitempty" protobuf:"varint,40,opt,name=x20" thrift:"40"`
+	X21  int64              `json:"x21,omitempty" protobuf:"varint,41,opt,name=x21" thrift:"41"`
+	X22  int64              `json:"x22,omitempty" protobuf:"varint,42,opt,name=x22" thrift:"42"`
+	X23  int64              `json:"x23,omitempty" protobuf:"varint,43,opt,name=x23" thrift:"43"`
 }
 
 type Peer211 struct {
@@ -2973,11 +8273,36 @@ type Peer211 struct {
 }
 
 type Rec212 struct {
-	V    int64    `json:"v" protobuf:"varint,1,opt,name=v" thrift:"1"`
-	Next *Rec212  `json:"next,omitempty" protobuf:"bytes,2,opt,name=next" thrift:"2"`
-	Kids []Rec212 `json:"kids,omitempty" protobuf:"bytes,3,rep,name=kids" thrift:"3"`
-	Peer *Peer212 `json:"peer,omitempty" protobuf:"bytes,4,opt,name=peer" thrift:"4"`
-	S    string   `json:"s,omitempty" protobuf:"bytes,5,opt,name=s" thrift:"5"`
+	M    map[string]Peer212 `json:"m,omitempty" protobuf:"bytes,6,rep,name=m" protobuf_key:"bytes,1,opt,name=key" protobuf_val:"bytes,2,opt,name=value" thrift:"6"`
+	V    int64              `json:"v" protobuf:"varint,1,opt,name=v" thrift:"1"`
+	Next *Rec212            `json:"next,omitempty" protobuf:"bytes,2,opt,name=next" thrift:"2"`
+	Kids []Rec212           `json:"kids,omitempty" protobuf:"bytes,3,rep,name=kids" thrift:"3"`
+	Peer *Peer212           `json:"peer,omitempty" protobuf:"bytes,4,opt,name=peer" thrift:"4"`
+	S    string             `json:"s,omitempty" protobuf:"bytes,5,opt,name=s" thrift:"5"`
+	X00  int64              `json:"x0,omitempty" protobuf:"varint,20,opt,name=x0" thrift:"20"`
+	X01  int64              `json:"x1,omitempty" protobuf:"varint,21,opt,name=x1" thrift:"21"`
+	X02  int64              `json:"x2,omitempty" protobuf:"varint,22,opt,name=x2" thrift:"22"`
+	X03  int64              `json:"x3,omitempty" protobuf:"varint,23,opt,name=x3" thrift:"23"`
+	X04  int64              `json:"x4,omitempty" protobuf:"varint,24,opt,name=x4" thrift:"24"`
+	X05  int64              `json:"x5,omitempty" protobuf:"varint,25,opt,name=x5" thrift:"25"`
+	X06  int64              `json:"x6,omitempty" protobuf:"varint,26,opt,name=x6" thrift:"26"`
+	X07  int64              `json:"x7,omitempty" protobuf:"varint,27,opt,name=x7" thrift:"27"`
+	X08  int64              `json:"x8,omitempty" protobuf:"varint,28,opt,name=x8" thrift:"28"`
+	X09  int64              `json:"x9,omitempty" protobuf:"varint,29,opt,name=x9" thrift:"29"`
+	X10  int64              `json:"x10,omitempty" protobuf:"varint,30,opt,name=x10" thrift:"30"`
+	X11  int64              `json:"x11,omitempty" protobuf:"varint,31,opt,name=x11" thrift:"31"`
+	X12  int64              `json:"x12,omitempty" protobuf:"varint,32,opt,name=x12" thrift:"32"`
+	X13  int64              `json:"x13,omitempty" protobuf:"varint,33,opt,name=x13" thrift:"33"`
+	X14  int64              `json:"x14,omitempty" protobuf:"varint,34,opt,name=x14" thrift:"34"`
+	X15  int64              `json:"x15,omitempty" protobuf:"varint,35,opt,name=x15" thrift:"35"`
+	X16  int64              `json:"x16,omitempty" protobuf:"varint,36,opt,name=x16" thrift:"36"`
+	X17  int64              `json:"x17,omitempty" protobuf:"varint,37,opt,name=x17" thrift:"37"`
+	X18  int64              `json:"x18,omitempty" protobuf:"varint,38,opt,name=x18" thrift:"38"`
+	X19  int64              `json:"x19,omitempty" protobuf:"varint,39,opt,name=x19" thrift:"39"`
+	X20  int64              `json:"x20,omitempty" protobuf:"varint,40,opt,name=x20" thrift:"40"`
+	X21  int64              `json:"x21,omitempty" protobuf:"varint,41,opt,name=x21" thrift:"41"`
+	X22  int64              `json:"x22,omitempty" protobuf:"varint,42,opt,name=x22" thrift:"42"`
+	X23  int64              `json:"x23,omitempty" protobuf:"varint,43,opt,name=x23" thrift:"43"`
 }
 
 type Peer212 struct {
@@ -2987,11 +8312,36 @@ type Peer212 struct {
 }
 
 type Rec213 struct {
-	V    int64    `json:"v" protobuf:"varint,1,opt,name=v" thrift:"1"`
-	Next *Rec213  `json:"next,omitempty" protobuf:"bytes,2,opt,name=next" thrift:"2"`
-	Kids []Rec213 `json:"kids,omitempty" protobuf:"bytes,3,rep,name=kids" thrift:"3"`
-	Peer *Peer213 `json:"peer,omitempty" protobuf:"bytes,4,opt,name=peer" thrift:"4"`
-	S    string   `json:"s,omitempty" protobuf:"bytes,5,opt,name=s" thrift:"5"`
+	M    map[string]Peer213 `json:"m,omitempty" protobuf:"bytes,6,rep,name=m" protobuf_key:"bytes,1,opt,name=key" protobuf_val:"bytes,2,opt,name=value" thrift:"6"`
+	V    int64              `json:"v" protobuf:"varint,1,opt,name=v" thrift:"1"`
+	Next *Rec213            `json:"next,omitempty" protobuf:"bytes,2,opt,name=next" thrift:"2"`
+	Kids []Rec213           `json:"kids,omitempty" protobuf:"bytes,3,rep,name=kids" thrift:"3"`
+	Peer *Peer213           `json:"peer,omitempty" protobuf:"bytes,4,opt,name=peer" thrift:"4"`
+	S    string             `json:"s,omitempty" protobuf:"bytes,5,opt,name=s" thrift:"5"`
+	X00  int64              `json:"x0,omitempty" protobuf:"varint,20,opt,name=x0" thrift:"20"`
+	X01  int64              `json:"x1,omitempty" protobuf:"varint,21,opt,name=x1" thrift:"21"`
+	X02  int64              `json:"x2,omitempty" protobuf:"varint,22,opt,name=x2" thrift:"22"`
+	X03  int64              `json:"x3,omitempty" protobuf:"varint,23,opt,name=x3" thrift:"23"`
+	X04  int64              `json:"x4,omitempty" protobuf:"varint,24,opt,name=x4" thrift:"24"`
+	X05  int64              `json:"x5,omitempty" protobuf:"varint,25,opt,name=x5" thrift:"25"`
+	X06  int64              `json:"x6,omitempty" protobuf:"varint,26,opt,name=x6" thrift:"26"`
+	X07  int64              `json:"x7,omitempty" protobuf:"varint,27,opt,name=x7" thrift:"27"`
+	X08  int64              `json:"x8,omitempty" protobuf:"varint,28,opt,name=x8" thrift:"28"`
+	X09  int64              `json:"x9,omitempty" protobuf:"varint,29,opt,name=x9" thrift:"29"`
+	X10  int64              `json:"x10,omitempty" protobuf:"varint,30,opt,name=x10" thrift:"30"`
+	X11  int64              `json:"x11,omitempty" protobuf:"varint,31,opt,name=x11" thrift:"31"`
+	X12  int64              `json:"x12,omitempty" protobuf:"varint,32,opt,name=x12" thrift:"32"`
+	X13  int64              `json:"x13,omitempty" protobuf:"varint,33,opt,name=x13" thrift:"33"`
+	X14  int64              `json:"x14,omitempty" protobuf:"varint,34,opt,name=x14" thrift:"34"`
+	X15  int64              `json:"x15,omitempty" protobuf:"varint,35,opt,name=x15" thrift:"35"`
+	X16  int64              `json:"x16,omitempty" protobuf:"varint,36,opt,name=x16" thrift:"36"`
+	X17  int64              `json:"x17,omitempty" protobuf:"varint,37,opt,name=x17" thrift:"37"`
+	X18  int64              `json:"x18,omitempty" protobuf:"varint,38,opt,name=x18" thrift:"38"`
+	X19  int64              `json:"x19,omitempty" protobuf:"varint,39,opt,name=x19" thrift:"39"`
+	X20  int64              `json:"x20,omitempty" protobuf:"varint,40,opt,name=x20" thrift:"40"`
+	X21  int64              `json:"x21,omitempty" protobuf:"varint,41,opt,name=x21" thrift:"41"`
+	X22  int64              `json:"x22,omitempty" protobuf:"varint,42,opt,name=x22" thrift:"42"`
+	X23  int64              `json:"x23,omitempty" protobuf:"varint,43,opt,name=x23" thrift:"43"`
 }
 
 type Peer213 struct {
@@ -3001,11 +8351,36 @@ type Peer213 struct {
 }
 
 type Rec214 struct {
-	V    int64    `json:"v" protobuf:"varint,1,opt,name=v" thrift:"1"`
-	Next *Rec214  `json:"next,omitempty" protobuf:"bytes,2,opt,name=next" thrift:"2"`
-	Kids []Rec214 `json:"kids,omitempty" protobuf:"bytes,3,rep,name=kids" thrift:"3"`
-	Peer *Peer214 `json:"peer,omitempty" protobuf:"bytes,4,opt,name=peer" thrift:"4"`
-	S    string   `json:"s,omitempty" protobuf:"bytes,5,opt,name=s" thrift:"5"`
+	M    map[string]Peer214 `json:"m,omitempty" protobuf:"bytes,6,rep,name=m" protobuf_key:"bytes,1,opt,name=key" protobuf_val:"bytes,2,opt,name=value" thrift:"6"`
+	V    int64              `json:"v" protobuf:"varint,1,opt,name=v" thrift:"1"`
+	Next *Rec214            `json:"next,omitempty" protobuf:"bytes,2,opt,name=next" thrift:"2"`
+	Kids []Rec214           `json:"kids,omitempty" protobuf:"bytes,3,rep,name=kids" thrift:"3"`
+	Peer *Peer214           `json:"peer,omitempty" protobuf:"bytes,4,opt,name=peer" thrift:"4"`
+	S    string             `json:"s,omitempty" protobuf:"bytes,5,opt,name=s" thrift:"5"`
+	X00  int64              `json:"x0,omitempty" protobuf:"varint,20,opt,name=x0" thrift:"20"`
+	X01  int64              `json:"x1,omitempty" protobuf:"varint,21,opt,name=x1" thrift:"21"`
+	X02  int64              `json:"x2,omitempty" protobuf:"varint,22,opt,name=x2" thrift:"22"`
+	X03  int64              `json:"x3,omitempty" protobuf:"varint,23,opt,name=x3" thrift:"23"`
+	X04  int64              `json:"x4,omitempty" protobuf:"varint,24,opt,name=x4" thrift:"24"`
+	X05  int64              `json:"x5,omitempty" protobuf:"varint,25,opt,name=x5" thrift:"25"`
+	X06  int64              `json:"x6,omitempty" protobuf:"varint,26,opt,name=x6" thrift:"26"`
+	X07  int64              `json:"x7,omitempty" protobuf:"varint,27,opt,name=x7" thrift:"27"`
+	X08  int64              `json:"x8,omitempty" protobuf:"varint,28,opt,name=x8" thrift:"28"`
+	X09  int64              `json:"x9,omitempty" protobuf:"varint,29,opt,name=x9" thrift:"29"`
+	X10  int64              `json:"x10,omitempty" protobuf:"varint,30,opt,name=x10" thrift:"30"`
+	X11  int64              `json:"x11,omitempty" protobuf:"varint,31,opt,name=x11" thrift:"31"`
+	X12  int64              `json:"x12,omitempty" protobuf:"varint,32,opt,name=x12" thrift:"32"`
+	X13  int64              `json:"x13,omitempty" protobuf:"varint,33,opt,name=x13" thrift:"33"`
+	X14  int64              `json:"x14,omitempty" protobuf:"varint,34,opt,name=x14" thrift:"34"`
+	X15  int64              `json:"x15,omitempty" protobuf:"varint,35,opt,name=x15" thrift:"35"`
+	X16  int64              `json:"x16,omitempty" protobuf:"varint,36,opt,name=x16" thrift:"36"`
+	X17  int64              `json:"x17,omitempty" protobuf:"varint,37,opt,name=x17" thrift:"37"`
+	X18  int64              `json:"x18,omitempty" protobuf:"varint,38,opt,name=x18" thrift:"38"`
+	X19  int64              `json:"x19,omitempty" protobuf:"varint,39,opt,name=x19" thrift:"39"`
+	X20  int64              `json:"x20,omitempty" protobuf:"varint,40,opt,name=x20" thrift:"40"`
+	X21  int64              `json:"x21,omitempty" protobuf:"varint,41,opt,name=x21" thrift:"41"`
+	X22  int64              `json:"x22,omitempty" protobuf:"varint,42,opt,name=x22" thrift:"42"`
+	X23  int64              `json:"x23,omitempty" protobuf:"varint,43,opt,name=x23" thrift:"43"`
 }
 
 type Peer214 struct {
@@ -3015,11 +8390,36 @@ type Peer214 struct {
 }
 
 type Rec215 struct {
-	V    int64    `json:"v" protobuf:"varint,1,opt,name=v" thrift:"1"`
-	Next *Rec215  `json:"next,omitempty" protobuf:"bytes,2,opt,name=next" thrift:"2"`
-	Kids []Rec215 `json:"kids,omitempty" protobuf:"bytes,3,rep,name=kids" thrift:"3"`
-	Peer *Peer215 `json:"peer,omitempty" protobuf:"bytes,4,opt,name=peer" thrift:"4"`
-	S    string   `json:"s,omitempty" protobuf:"bytes,5,opt,name=s" thrift:"5"`
+	M    map[string]Peer215 `json:"m,omitempty" protobuf:"bytes,6,rep,name=m" protobuf_key:"bytes,1,opt,name=key" protobuf_val:"bytes,2,opt,name=value" thrift:"6"`
+	V    int64              `json:"v" protobuf:"varint,1,opt,name=v" thrift:"1"`
+	Next *Rec215            `json:"next,omitempty" protobuf:"bytes,2,opt,name=next" thrift:"2"`
+	Kids []Rec215           `json:"kids,omitempty" protobuf:"bytes,3,rep,name=kids" thrift:"3"`
+	Peer *Peer215           `json:"peer,omitempty" protobuf:"bytes,4,opt,name=peer" thrift:"4"`
+	S    string             `json:"s,omitempty" protobuf:"bytes,5,opt,name=s" thrift:"5"`
+	X00  int64              `json:"x0,omitempty" protobuf:"varint,20,opt,name=x0" thrift:"20"`
+	X01  int64              `json:"x1,omitempty" protobuf:"varint,21,opt,name=x1" thrift:"21"`
+	X02  int64              `json:"x2,omitempty" protobuf:"varint,22,opt,name=x2" thrift:"22"`
+	X03  int64              `json:"x3,omitempty" protobuf:"varint,23,opt,name=x3" thrift:"23"`
+	X04  int64              `json:"x4,omitempty" protobuf:"varint,24,opt,name=x4" thrift:"24"`
+	X05  int64              `json:"x5,omitempty" protobuf:"varint,25,opt,name=x5" thrift:"25"`
+	X06  int64              `json:"x6,omitempty" protobuf:"varint,26,opt,name=x6" thrift:"26"`
+	X07  int64              `json:"x7,omitempty" protobuf:"varint,27,opt,name=x7" thrift:"27"`
+	X08  int64              `json:"x8,omitempty" protobuf:"varint,28,opt,name=x8" thrift:"28"`
+	X09  int64              `json:"x9,omitempty" protobuf:"varint,29,opt,name=x9" thrift:"29"`
+	X10  int64              `json:"x10,omitempty" protobuf:"varint,30,opt,name=x10" thrift:"30"`
+	X11  int64              `json:"x11,omitempty" protobuf:"varint,31,opt,name=x11" thrift:"31"`
+	X12  int64              `json:"x12,omitempty" protobuf:"varint,32,opt,name=x12" thrift:"32"`
+	X13  int64              `json:"x13,omitempty" protobuf:"varint,33,opt,name=x13" thrift:"33"`
+	X14  int64              `json:"x14,omitempty" protobuf:"varint,34,opt,name=x14" thrift:"34"`
+	X15  int64              `json:"x15,omitempty" protobuf:"varint,35,opt,name=x15" thrift:"35"`
+	X16  int64              `json:"x16,omitempty" protobuf:"varint,36,opt,name=x16" thrift:"36"`
+	X17  int64              `json:"x17,omitempty" protobuf:"varint,37,opt,name=x17" thrift:"37"`
+	X18  int64              `json:"x18,omitempty" protobuf:"varint,38,opt,name=x18" thrift:"38"`
+	X19  int64              `json:"x19,omitempty" protobuf:"varint,39,opt,name=x19" thrift:"39"`
+	X20  int64              `json:"x20,omitempty" protobuf:"varint,40,opt,name=x20" thrift:"40"`
+	X21  int64              `json:"x21,omitempty" protobuf:"varint,41,opt,name=x21" thrift:"41"`
+	X22  int64              `json:"x22,omitempty" protobuf:"varint,42,opt,name=x22" thrift:"42"`
+	X23  int64              `json:"x23,omitempty" protobuf:"varint,43,opt,name=x23" thrift:"43"`
 }
 
 type Peer215 struct {
@@ -3029,11 +8429,36 @@ type Peer215 struct {
 }
 
 type Rec216 struct {
-	V    int64    `json:"v" protobuf:"varint,1,opt,name=v" thrift:"1"`
-	Next *Rec216  `json:"next,omitempty" protobuf:"bytes,2,opt,name=next" thrift:"2"`
-	Kids []Rec216 `json:"kids,omitempty" protobuf:"bytes,3,rep,name=kids" thrift:"3"`
-	Peer *Peer216 `json:"peer,omitempty" protobuf:"bytes,4,opt,name=peer" thrift:"4"`
-	S    string   `json:"s,omitempty" protobuf:"bytes,5,opt,name=s" thrift:"5"`
+	M    map[string]Peer216 `json:"m,omitempty" protobuf:"bytes,6,rep,name=m" protobuf_key:"bytes,1,opt,name=key" protobuf_val:"bytes,2,opt,name=value" thrift:"6"`
+	V    int64              `json:"v" protobuf:"varint,1,opt,name=v" thrift:"1"`
+	Next *Rec216            `json:"next,omitempty" protobuf:"bytes,2,opt,name=next" thrift:"2"`
+	Kids []Rec216           `json:"kids,omitempty" protobuf:"bytes,3,rep,name=kids" thrift:"3"`
+	Peer *Peer216           `json:"peer,omitempty" protobuf:"bytes,4,opt,name=peer" thrift:"4"`
+	S    string             `json:"s,omitempty" protobuf:"bytes,5,opt,name=s" thrift:"5"`
+	X00  int64              `json:"x0,omitempty" protobuf:"varint,20,opt,name=x0" thrift:"20"`
+	X01  int64              `json:"x1,omitempty" protobuf:"varint,21,opt,name=x1" thrift:"21"`
+	X02  int64              `json:"x2,omitempty" protobuf:"varint,22,opt,name=x2" thrift:"22"`
+	X03  int64              `json:"x3,omitempty" protobuf:"varint,23,opt,name=x3" thrift:"23"`
+	X04  int64              `json:"x4,omitempty" protobuf:"varint,24,opt,name=x4" thrift:"24"`
+	X05  int64              `json:"x5,omitempty" protobuf:"varint,25,opt,name=x5" thrift:"25"`
+	X06  int64              `json:"x6,omitempty" protobuf:"varint,26,opt,name=x6" thrift:"26"`
+	X07  int64              `json:"x7,omitempty" protobuf:"varint,27,opt,name=x7" thrift:"27"`
+	X08  int64              `json:"x8,omitempty" protobuf:"varint,28,opt,name=x8" thrift:"28"`
+	X09  int64              `json:"x9,omitempty" protobuf:"varint,29,opt,name=x9" thrift:"29"`
+	X10  int64              `json:"x10,omitempty" protobuf:"varint,30,opt,name=x10" thrift:"30"`
+	X11  int64              `json:"x11,omitempty" protobuf:"varint,31,opt,name=x11" thrift:"31"`
+	X12  int64              `json:"x12,omitempty" protobuf:"varint,32,opt,name=x12" thrift:"32"`
+	X13  int64              `json:"x13,omitempty" protobuf:"varint,33,opt,name=x13" thrift:"33"`
+	X14  int64              `json:"x14,omitempty" protobuf:"varint,34,opt,name=x14" thrift:"34"`
+	X15  int64              `json:"x15,omitempty" protobuf:"varint,35,opt,name=x15" thrift:"35"`
+	X16  int64              `json:"x16,omitempty" protobuf:"varint,36,opt,name=x16" thrift:"36"`
+	X17  int64              `json:"x17,omitempty" protobuf:"varint,37,opt,name=x17" thrift:"37"`
+	X18  int64              `json:"x18,omitempty" protobuf:"varint,38,opt,name=x18" thrift:"38"`
+	X19  int64              `json:"x19,omitempty" protobuf:"varint,39,opt,name=x19" thrift:"39"`
+	X20  int64              `json:"x20,omitempty" protobuf:"varint,40,opt,name=x20" thrift:"40"`
+	X21  int64              `json:"x21,omitempty" protobuf:"varint,41,opt,name=x21" thrift:"41"`
+	X22  int64              `json:"x22,omitempty" protobuf:"varint,42,opt,name=x22" thrift:"42"`
+	X23  int64              `json:"x23,omitempty" protobuf:"varint,43,opt,name=x23" thrift:"43"`
 }
 
 type Peer216 struct {
@@ -3043,11 +8468,36 @@ type Peer216 struct {
 }
 
 type Rec217 struct {
-	V    int64    `json:"v" protobuf:"varint,1,opt,name=v" thrift:"1"`
-	Next *Rec217  `json:"next,omitempty" protobuf:"bytes,2,opt,name=next" thrift:"2"`
-	Kids []Rec217 `json:"kids,omitempty" protobuf:"bytes,3,rep,name=kids" thrift:"3"`
-	Peer *Peer217 `json:"peer,omitempty" protobuf:"bytes,4,opt,name=peer" thrift:"4"`
-	S    string   `json:"s,omitempty" protobuf:"bytes,5,opt,name=s" thrift:"5"`
+	M    map[string]Peer217 `json:"m,omitempty" protobuf:"bytes,6,rep,name=m" protobuf_key:"bytes,1,opt,name=key" protobuf_val:"bytes,2,opt,name=value" thrift:"6"`
+	V    int64              `json:"v" protobuf:"varint,1,opt,name=v" thrift:"1"`
+	Next *Rec217            `json:"next,omitempty" protobuf:"bytes,2,opt,name=next" thrift:"2"`
+	Kids []Rec217           `json:"kids,omitempty" protobuf:"bytes,3,rep,name=kids" thrift:"3"`
+	Peer *Peer217           `json:"peer,omitempty" protobuf:"bytes,4,opt,name=peer" thrift:"4"`
+	S    string             `json:"s,omitempty" protobuf:"bytes,5,opt,name=s" thrift:"5"`
+	X00  int64              `json:"x0,omitempty" protobuf:"varint,20,opt,name=x0" thrift:"20"`
+	X01  int64              `json:"x1,omitempty" protobuf:"varint,21,opt,name=x1" thrift:"21"`
+	X02  int64              `json:"x2,omitempty" protobuf:"varint,22,opt,name=x2" thrift:"22"`
+	X03  int64              `json:"x3,omitempty" protobuf:"varint,23,opt,name=x3" thrift:"23"`
+	X04  int64              `json:"x4,omitempty" protobuf:"varint,24,opt,name=x4" thrift:"24"`
+	X05  int64              `json:"x5,omitempty" protobuf:"varint,25,opt,name=x5" thrift:"25"`
+	X06  int64              `json:"x6,omitempty" protobuf:"varint,26,opt,name=x6" thrift:"26"`
+	X07  int64              `json:"x7,omitempty" protobuf:"varint,27,opt,name=x7" thrift:"27"`
+	X08  int64              `json:"x8,omitempty" protobuf:"varint,28,opt,name=x8" thrift:"28"`
+	X09  int64              `json:"x9,omitempty" protobuf:"varint,29,opt,name=x9" thrift:"29"`
+	X10  int64              `json:"x10,omitempty" protobuf:"varint,30,opt,name=x10" thrift:"30"`
+	X11  int64              `json:"x11,omitempty" protobuf:"varint,31,opt,name=x11" thrift:"31"`
+	X12  int64              `json:"x12,omitempty" protobuf:"varint,32,opt,name=x12" thrift:"32"`
+	X13  int64              `json:"x13,omitempty" protobuf:"varint,33,opt,name=x13" thrift:"33"`
+	X14  int64              `json:"x14,omitempty" protobuf:"varint,34,opt,name=x14" thrift:"34"`
+	X15  int64              `json:"x15,omitempty" protobuf:"varint,35,opt,name=x15" thrift:"35"`
+	X16  int64              `json:"x16,omitempty" protobuf:"varint,36,opt,name=x16" thrift:"36"`
+	X17  int64              `json:"x17,omitempty" protobuf:"varint,37,opt,name=x17" thrift:"37"`
+	X18  int64              `json:"x18,omitempty" protobuf:"varint,38,opt,name=x18" thrift:"38"`
+	X19  int64              `json:"x19,omitempty" protobuf:"varint,39,opt,name=x19" thrift:"39"`
+	X20  int64              `json:"x20,omitempty" protobuf:"varint,40,opt,name=x20" thrift:"40"`
+	X21  int64              `json:"x21,omitempty" protobuf:"varint,41,opt,name=x21" thrift:"41"`
+	X22  int64              `json:"x22,omitempty" protobuf:"varint,42,opt,name=x22" thrift:"42"`
+	X23  int64              `json:"x23,omitempty" protobuf:"varint,43,opt,name=x23" thrift:"43"`
 }
 
 type Peer217 struct {
@@ -3057,11 +8507,36 @@ type Peer217 struct {
 }
 
 type Rec218 struct {
-	V    int64    `json:"v" protobuf:"varint,1,opt,name=v" thrift:"1"`
-	Next *Rec218  `json:"next,omitempty" protobuf:"bytes,2,opt,name=next" thrift:"2"`
-	Kids []Rec218 `json:"kids,omitempty" protobuf:"bytes,3,rep,name=kids" thrift:"3"`
-	Peer *Peer218 `json:"peer,omitempty" protobuf:"bytes,4,opt,name=peer" thrift:"4"`
-	S    string   `json:"s,omitempty" protobuf:"bytes,5,opt,name=s" thrift:"5"`
+	M    map[string]Peer218 `json:"m,omitempty" protobuf:"bytes,6,rep,name=m" protobuf_key:"bytes,1,opt,name=key" protobuf_val:"bytes,2,opt,name=value" thrift:"6"`
+	V    int64              `json:"v" protobuf:"varint,1,opt,name=v" thrift:"1"`
+	Next *Rec218            `json:"next,omitempty" protobuf:"bytes,2,opt,name=next" thrift:"2"`
+	Kids []Rec218           `json:"kids,omitempty" protobuf:"bytes,3,rep,name=kids" thrift:"3"`
+	Peer *Peer218           `json:"peer,omitempty" protobuf:"bytes,4,opt,name=peer" thrift:"4"`
+	S    string             `json:"s,omitempty" protobuf:"bytes,5,opt,name=s" thrift:"5"`
+	X00  int64              `json:"x0,omitempty" protobuf:"varint,20,opt,name=x0" thrift:"20"`
+	X01  int64              `json:"x1,omitempty" protobuf:"varint,21,opt,name=x1" thrift:"21"`
+	X02  int64              `json:"x2,omitempty" protobuf:"varint,22,opt,name=x2" thrift:"22"`
+	X03  int64              `json:"x3,omitempty" protobuf:"varint,23,opt,name=x3" thrift:"23"`
+	X04  int64              `json:"x4,omitempty" protobuf:"varint,24,opt,name=x4" thrift:"24"`
+	X05  int64              `json:"x5,omitempty" protobuf:"varint,25,opt,name=x5" thrift:"25"`
+	X06  int64              `json:"x6,omitempty" protobuf:"varint,26,opt,name=x6" thrift:"26"`
+	X07  int64              `json:"x7,omitempty" protobuf:"varint,27,opt,name=x7" thrift:"27"`
+	X08  int64              `json:"x8,omitempty" protobuf:"varint,28,opt,name=x8" thrift:"28"`
+	X09  int64              `json:"x9,omitempty" protobuf:"varint,29,opt,name=x9" thrift:"29"`
+	X10  int64              `json:"x10,omitempty" protobuf:"varint,30,opt,name=x10" thrift:"30"`
+	X11  int64              `json:"x11,omitempty" protobuf:"varint,31,opt,name=x11" thrift:"31"`
+	X12  int64              `json:"x12,omitempty" protobuf:"varint,32,opt,name=x12" thrift:"32"`
+	X13  int64              `json:"x13,omitempty" protobuf:"varint,33,opt,name=x13" thrift:"33"`
+	X14  int64              `json:"x14,omitempty" protobuf:"varint,34,opt,name=x14" thrift:"34"`
+	X15  int64              `json:"x15,omitempty" protobuf:"varint,35,opt,name=x15" thrift:"35"`
+	X16  int64              `json:"x16,omitempty" protobuf:"varint,36,opt,name=x16" thrift:"36"`
+	X17  int64              `json:"x17,omitempty" protobuf:"varint,37,opt,name=x17" thrift:"37"`
+	X18  int64              `json:"x18,omitempty" protobuf:"varint,38,opt,name=x18" thrift:"38"`
+	X19  int64              `json:"x19,omitempty" protobuf:"varint,39,opt,name=x19" thrift:"39"`
+	X20  int64              `json:"x20,omitempty" protobuf:"varint,40,opt,name=x20" thrift:"40"`
+	X21  int64              `json:"x21,omitempty" protobuf:"varint,41,opt,name=x21" thrift:"41"`
+	X22  int64              `json:"x22,omitempty" protobuf:"varint,42,opt,name=x22" thrift:"42"`
+	X23  int64              `json:"x23,omitempty" protobuf:"varint,43,opt,name=x23" thrift:"43"`
 }
 
 type Peer218 struct {
@@ -3071,11 +8546,36 @@ type Peer218 struct {
 }
 
 type Rec219 struct {
-	V    int64    `json:"v" protobuf:"varint,1,opt,name=v" thrift:"1"`
-	Next *Rec219  `json:"next,omitempty" protobuf:"bytes,2,opt,name=next" thrift:"2"`
-	Kids []Rec219 `json:"kids,omitempty" protobuf:"bytes,3,rep,name=kids" thrift:"3"`
-	Peer *Peer219 `json:"peer,omitempty" protobuf:"bytes,4,opt,name=peer" thrift:"4"`
-	S    string   `json:"s,omitempty" protobuf:"bytes,5,opt,name=s" thrift:"5"`
+	M    map[string]Peer219 `json:"m,omitempty" protobuf:"bytes,6,rep,name=m" protobuf_key:"bytes,1,opt,name=key" protobuf_val:"bytes,2,opt,name=value" thrift:"6"`
+	V    int64              `json:"v" protobuf:"varint,1,opt,name=v" thrift:"1"`
+	Next *Rec219            `json:"next,omitempty" protobuf:"bytes,2,opt,name=next" thrift:"2"`
+	Kids []Rec219           `json:"kids,omitempty" protobuf:"bytes,3,rep,name=kids" thrift:"3"`
+	Peer *Peer219           `json:"peer,omitempty" protobuf:"bytes,4,opt,name=peer" thrift:"4"`
+	S    string             `json:"s,omitempty" protobuf:"bytes,5,opt,name=s" thrift:"5"`
+	X00  int64              `json:"x0,omitempty" protobuf:"varint,20,opt,name=x0" thrift:"20"`
+	X01  int64              `json:"x1,omitempty" protobuf:"varint,21,opt,name=x1" thrift:"21"`
+	X02  int64              `json:"x2,omitempty" protobuf:"varint,22,opt,name=x2" thrift:"22"`
+	X03  int64              `json:"x3,omitempty" protobuf:"varint,23,opt,name=x3" thrift:"23"`
+	X04  int64              `json:"x4,omitempty" protobuf:"varint,24,opt,name=x4" thrift:"24"`
+	X05  int64              `json:"x5,omitempty" protobuf:"varint,25,opt,name=x5" thrift:"25"`
+	X06  int64              `json:"x6,omitempty" protobuf:"varint,26,opt,name=x6" thrift:"26"`
+	X07  int64              `json:"x7,omitempty" protobuf:"varint,27,opt,name=x7" thrift:"27"`
+	X08  int64              `json:"x8,omitempty" protobuf:"varint,28,opt,name=x8" thrift:"28"`
+	X09  int64              `json:"x9,omitempty" protobuf:"varint,29,opt,name=x9" thrift:"29"`
+	X10  int64              `json:"x10,omitempty" protobuf:"varint,30,opt,name=x10" thrift:"30"`
+	X11  int64              `json:"x11,omitempty" protobuf:"varint,31,opt,name=x11" thrift:"31"`
+	X12  int64              `json:"x12,omitempty" protobuf:"varint,32,opt,name=x12" thrift:"32"`
+	X13  int64              `json:"x13,omitempty" protobuf:"varint,33,opt,name=x13" thrift:"33"`
+	X14  int64              `json:"x14,omitempty" protobuf:"varint,34,opt,name=x14" thrift:"34"`
+	X15  int64              `json:"x15,omitempty" protobuf:"varint,35,opt,name=x15" thrift:"35"`
+	X16  int64              `json:"x16,omitempty" protobuf:"varint,36,opt,name=x16" thrift:"36"`
+	X17  int64              `json:"x17,omitempty" protobuf:"varint,37,opt,name=x17" thrift:"37"`
+	X18  int64              `json:"x18,omitempty" protobuf:"varint,38,opt,name=x18" thrift:"38"`
+	X19  int64              `json:"x19,omitempty" protobuf:"varint,39,opt,name=x19" thrift:"39"`
+	X20  int64              `json:"x20,omitempty" protobuf:"varint,40,opt,name=x20" thrift:"40"`
+	X21  int64              `json:"x21,omitempty" protobuf:"varint,41,opt,name=x21" thrift:"41"`
+	X22  int64              `json:"x22,omitempty" protobuf:"varint,42,opt,name=x22" thrift:"42"`
+	X23  int64              `json:"x23,omitempty" protobuf:"varint,43,opt,name=x23" thrift:"43"`
 }
 
 type Peer219 struct {
@@ -3085,11 +8585,36 @@ type Peer219 struct {
 }
 
 type Rec220 struct {
-	V    int64    `json:"v" protobuf:"varint,1,opt,name=v" thrift:"1"`
-	Next *Rec220  `json:"next,omitempty" protobuf:"bytes,2,opt,name=next" thrift:"2"`
-	Kids []Rec220 `json:"kids,omitempty" protobuf:"bytes,3,rep,name=kids" thrift:"3"`
-	Peer *Peer220 `json:"peer,omitempty" protobuf:"bytes,4,opt,name=peer" thrift:"4"`
-	S    string   `json:"s,omitempty" protobuf:"bytes,5,opt,name=s" thrift:"5"`
+	M    map[string]Peer220 `json:"m,omitempty" protobuf:"bytes,6,rep,name=m" protobuf_key:"bytes,1,opt,name=key" protobuf_val:"bytes,2,opt,name=value" thrift:"6"`
+	V    int64              `json:"v" protobuf:"varint,1,opt,name=v" thrift:"1"`
+	Next *Rec220            `json:"next,omitempty" protobuf:"bytes,2,opt,name=next" thrift:"2"`
+	Kids []Rec220           `json:"kids,omitempty" protobuf:"bytes,3,rep,name=kids" thrift:"3"`
+	Peer *Peer220           `json:"peer,omitempty" protobuf:"bytes,4,opt,name=peer" thrift:"4"`
+	S    string             `json:"s,omitempty" protobuf:"bytes,5,opt,name=s" thrift:"5"`
+	X00  int64              `json:"x0,omitempty" protobuf:"varint,20,opt,name=x0" thrift:"20"`
+	X01  int64              `json:"x1,omitempty" protobuf:"varint,21,opt,name=x1" thrift:"21"`
+	X02  int64              `json:"x2,omitempty" protobuf:"varint,22,opt,name=x2" thrift:"22"`
+	X03  int64              `json:"x3,omitempty" protobuf:"varint,23,opt,name=x3" thrift:"23"`
+	X04  int64              `json:"x4,omitempty" protobuf:"varint,24,opt,name=x4" thrift:"24"`
+	X05  int64              `json:"x5,omitempty" protobuf:"varint,25,opt,name=x5" thrift:"25"`
+	X06  int64              `json:"x6,omitempty" protobuf:"varint,26,opt,name=x6" thrift:"26"`
+	X07  int64              `json:"x7,omitempty" protobuf:"varint,27,opt,name=x7" thrift:"27"`
+	X08  int64              `json:"x8,omitempty" protobuf:"varint,28,opt,name=x8" thrift:"28"`
+	X09  int64              `json:"x9,omitempty" protobuf:"varint,29,opt,name=x9" thrift:"29"`
+	X10  int64              `json:"x10,omitempty" protobuf:"varint,30,opt,name=x10" thrift:"30"`
+	X11  int64              `json:"x11,omitempty" protobuf:"varint,31,opt,name=x11" thrift:"31"`
+	X12  int64              `json:"x12,omitempty" protobuf:"varint,32,opt,name=x12" thrift:"32"`
+	X13  int64              `json:"x13,omitempty" protobuf:"varint,33,opt,name=x13" thrift:"33"`
+	X14  int64              `json:"x14,omitempty" protobuf:"varint,34,opt,name=x14" thrift:"34"`
+	X15  int64              `json:"x15,omitempty" protobuf:"varint,35,opt,name=x15" thrift:"35"`
+	X16  int64              `json:"x16,omitempty" protobuf:"varint,36,opt,name=x16" thrift:"36"`
+	X17  int64              `json:"x17,omitempty" protobuf:"varint,37,opt,name=x17" thrift:"37"`
+	X18  int64              `json:"x18,omitempty" protobuf:"varint,38,opt,name=x18" thrift:"38"`
+	X19  int64              `json:"x19,omitempty" protobuf:"varint,39,opt,name=x19" thrift:"39"`
+	X20  int64              `json:"x20,omitempty" protobuf:"varint,40,opt,name=x20" thrift:"40"`
+	X21  int64              `json:"x21,omitempty" protobuf:"varint,41,opt,name=x21" thrift:"41"`
+	X22  int64              `json:"x22,omitempty" protobuf:"varint,42,opt,name=x22" thrift:"42"`
+	X23  int64              `json:"x23,omitempty" protobuf:"varint,43,opt,name=x23" thrift:"43"`
 }
 
 type Peer220 struct {
@@ -3099,11 +8624,36 @@ type Peer220 struct {
 }
 
 type Rec221 struct {
-	V    int64    `json:"v" protobuf:"varint,1,opt,name=v" thrift:"1"`
-	Next *Rec221  `json:"next,omitempty" protobuf:"bytes,2,opt,name=next" thrift:"2"`
-	Kids []Rec221 `json:"kids,omitempty" protobuf:"bytes,3,rep,name=kids" thrift:"3"`
-	Peer *Peer221 `json:"peer,omitempty" protobuf:"bytes,4,opt,name=peer" thrift:"4"`
-	S    string   `json:"s,omitempty" protobuf:"bytes,5,opt,name=s" thrift:"5"`
+	M    map[string]Peer221 `json:"m,omitempty" protobuf:"bytes,6,rep,name=m" protobuf_key:"bytes,1,opt,name=key" protobuf_val:"bytes,2,opt,name=value" thrift:"6"`
+	V    int64              `json:"v" protobuf:"varint,1,opt,name=v" thrift:"1"`
+	Next *Rec221            `json:"next,omitempty" protobuf:"bytes,2,opt,name=next" thrift:"2"`
+	Kids []Rec221           `json:"kids,omitempty" protobuf:"bytes,3,rep,name=kids" thrift:"3"`
+	Peer *Peer221           `json:"peer,omitempty" protobuf:"bytes,4,opt,name=peer" thrift:"4"`
+	S    string             `json:"s,omitempty" protobuf:"bytes,5,opt,name=s" thrift:"5"`
+	X00  int64              `json:"x0,omitempty" protobuf:"varint,20,opt,name=x0" thrift:"20"`
+	X01  int64              `json:"x1,omitempty" protobuf:"varint,21,opt,name=x1" thrift:"21"`
+	X02  int64              `json:"x2,omitempty" protobuf:"varint,22,opt,name=x2" thrift:"22"`
+	X03  int64              `json:"x3,omitempty" protobuf:"varint,23,opt,name=x3" thrift:"23"`
+	X04  int64              `json:"x4,omitempty" protobuf:"varint,24,opt,name=x4" thrift:"24"`
+	X05  int64              `json:"x5,omitempty" protobuf:"varint,25,opt,name=x5" thrift:"25"`
+	X06  int64              `json:"x6,omitempty" protobuf:"varint,26,opt,name=x6" thrift:"26"`
+	X07  int64              `json:"x7,omitempty" protobuf:"varint,27,opt,name=x7" thrift:"27"`
+	X08  int64              `json:"x8,omitempty" protobuf:"varint,28,opt,name=x8" thrift:"28"`
+	X09  int64              `json:"x9,omitempty" protobuf:"varint,29,opt,name=x9" thrift:"29"`
+	X10  int64              `json:"x10,omitempty" protobuf:"varint,30,opt,name=x10" thrift:"30"`
+	X11  int64              `json:"x11,omitempty" protobuf:"varint,31,opt,name=x11" thrift:"31"`
+	X12  int64              `json:"x12,omitempty" protobuf:"varint,32,opt,name=x12" thrift:"32"`
+	X13  int64              `json:"x13,omitempty" protobuf:"varint,33,opt,name=x13" thrift:"33"`
+	X14  int64              `json:"x14,omitempty" protobuf:"varint,34,opt,name=x14" thrift:"34"`
+	X15  int64              `json:"x15,omitempty" protobuf:"varint,35,opt,name=x15" thrift:"35"`
+	X16  int64              `json:"x16,omitempty" protobuf:"varint,36,opt,name=x16" thrift:"36"`
+	X17  int64              `json:"x17,omitempty" protobuf:"varint,37,opt,name=x17" thrift:"37"`
+	X18  int64              `json:"x18,omitempty" protobuf:"varint,38,opt,name=x18" thrift:"38"`
+	X19  int64              `json:"x19,omitempty" protobuf:"varint,39,opt,name=x19" thrift:"39"`
+	X20  int64              `json:"x20,omitempty" protobuf:"varint,40,opt,name=x20" thrift:"40"`
+	X21  int64              `json:"x21,omitempty" protobuf:"varint,41,opt,name=x21" thrift:"41"`
+	X22  int64              `json:"x22,omitempty" protobuf:"varint,42,opt,name=x22" thrift:"42"`
+	X23  int64              `json:"x23,omitempty" protobuf:"varint,43,opt,name=x23" thrift:"43"`
 }
 
 type Peer221 struct {
@@ -3113,11 +8663,36 @@ type Peer221 struct {
 }
 
 type Rec222 struct {
-	V    int64    `json:"v" protobuf:"varint,1,opt,name=v" thrift:"1"`
-	Next *Rec222  `json:"next,omitempty" protobuf:"bytes,2,opt,name=next" thrift:"2"`
-	Kids []Rec222 `json:"kids,omitempty" protobuf:"bytes,3,rep,name=kids" thrift:"3"`
-	Peer *Peer222 `json:"peer,omitempty" protobuf:"bytes,4,opt,name=peer" thrift:"4"`
-	S    string   `json:"s,omitempty" protobuf:"bytes,5,opt,name=s" thrift:"5"`
+	M    map[string]Peer222 `json:"m,omitempty" protobuf:"bytes,6,rep,name=m" protobuf_key:"bytes,1,opt,name=key" protobuf_val:"bytes,2,opt,name=value" thrift:"6"`
+	V    int64              `json:"v" protobuf:"varint,1,opt,name=v" thrift:"1"`
+	Next *Rec222            `json:"next,omitempty" protobuf:"bytes,2,opt,name=next" thrift:"2"`
+	Kids []Rec222           `json:"kids,omitempty" protobuf:"bytes,3,rep,name=kids" thrift:"3"`
+	Peer *Peer222           `json:"peer,omitempty" protobuf:"bytes,4,opt,name=peer" thrift:"4"`
+	S    string             `json:"s,omitempty" protobuf:"bytes,5,opt,name=s" thrift:"5"`
+	X00  int64              `json:"x0,omitempty" protobuf:"varint,20,opt,name=x0" thrift:"20"`
+	X01  int64              `json:"x1,omitempty" protobuf:"varint,21,opt,name=x1" thrift:"21"`
+	X02  int64              `json:"x2,omitempty" protobuf:"varint,22,opt,name=x2" thrift:"22"`
+	X03  int64              `json:"x3,omitempty" protobuf:"varint,23,opt,name=x3" thrift:"23"`
+	X04  int64              `json:"x4,omitempty" protobuf:"varint,24,opt,name=x4" thrift:"24"`
+	X05  int64              `json:"x5,omitempty" protobuf:"varint,25,opt,name=x5" thrift:"25"`
+	X06  int64              `json:"x6,omitempty" protobuf:"varint,26,opt,name=x6" thrift:"26"`
+	X07  int64              `json:"x7,omitempty" protobuf:"varint,27,opt,name=x7" thrift:"27"`
+	X08  int64              `json:"x8,omitempty" protobuf:"varint,28,opt,name=x8" thrift:"28"`
+	X09  int64              `json:"x9,omitempty" protobuf:"varint,29,opt,name=x9" thrift:"29"`
+	X10  int64              `json:"x10,omitempty" protobuf:"varint,30,opt,name=x10" thrift:"30"`
+	X11  int64              `json:"x11,omitempty" protobuf:"varint,31,opt,name=x11" thrift:"31"`
+	X12  int64              `json:"x12,omitempty" protobuf:"varint,32,opt,name=x12" thrift:"32"`
+	X13  int64              `json:"x13,omitempty" protobuf:"varint,33,opt,name=x13" thrift:"33"`
+	X14  int64              `json:"x14,omitempty" protobuf:"varint,34,opt,name=x14" thrift:"34"`
+	X15  int64              `json:"x15,omitempty" protobuf:"varint,35,opt,name=x15" thrift:"35"`
+	X16  int64              `json:"x16,omitempty" protobuf:"varint,36,opt,name=x16" thrift:"36"`
+	X17  int64              `json:"x17,omitempty" protobuf:"varint,37,opt,name=x17" thrift:"37"`
+	X18  int64              `json:"x18,omitempty" protobuf:"varint,38,opt,name=x18" thrift:"38"`
+	X19  int64              `json:"x19,omitempty" protobuf:"varint,39,opt,name=x19" thrift:"39"`
+	X20  int64              `json:"x20,omitempty" protobuf:"varint,40,opt,name=x20" thrift:"40"`
+	X21  int64              `json:"x21,omitempty" protobuf:"varint,41,opt,name=x21" thrift:"41"`
+	X22  int64              `json:"x22,omitempty" protobuf:"varint,42,opt,name=x22" thrift:"42"`
+	X23  int64              `json:"x23,omitempty" protobuf:"varint,43,opt,name=x23" thrift:"43"`
 }
 
 type Peer222 struct {
@@ -3127,11 +8702,36 @@ type Peer222 struct {
 }
 
 type Rec223 struct {
-	V    int64    `json:"v" protobuf:"varint,1,opt,name=v" thrift:"1"`
-	Next *Rec223  `json:"next,omitempty" protobuf:"bytes,2,opt,name=next" thrift:"2"`
-	Kids []Rec223 `json:"kids,omitempty" protobuf:"bytes,3,rep,name=kids" thrift:"3"`
-	Peer *Peer223 `json:"peer,omitempty" protobuf:"bytes,4,opt,name=peer" thrift:"4"`
-	S    string   `json:"s,omitempty" protobuf:"bytes,5,opt,name=s" thrift:"5"`
+	M    map[string]Peer223 `json:"m,omitempty" protobuf:"bytes,6,rep,name=m" protobuf_key:"bytes,1,opt,name=key" protobuf_val:"bytes,2,opt,name=value" thrift:"6"`
+	V    int64              `json:"v" protobuf:"varint,1,opt,name=v" thrift:"1"`
+	Next *Rec223            `json:"next,omitempty" protobuf:"bytes,2,opt,name=next" thrift:"2"`
+	Kids []Rec223           `json:"kids,omitempty" protobuf:"bytes,3,rep,name=kids" thrift:"3"`
+	Peer *Peer223           `json:"peer,omitempty" protobuf:"bytes,4,opt,name=peer" thrift:"4"`
+	S    string             `json:"s,omitempty" protobuf:"bytes,5,opt,name=s" thrift:"5"`
+	X00  int64              `json:"x0,omitempty" protobuf:"varint,20,opt,name=x0" thrift:"20"`
+	X01  int64              `json:"x1,omitempty" protobuf:"varint,21,opt,name=x1" thrift:"21"`
+	X02  int64              `json:"x2,omitempty" protobuf:"varint,22,opt,name=x2" thrift:"22"`
+	X03  int64              `json:"x3,omitempty" protobuf:"varint,23,opt,name=x3" thrift:"23"`
+	X04  int64              `json:"x4,omitempty" protobuf:"varint,24,opt,name=x4" thrift:"24"`
+	X05  int64              `json:"x5,omitempty" protobuf:"varint,25,opt,name=x5" thrift:"25"`
+	X06  int64              `json:"x6,omitempty" protobuf:"varint,26,opt,name=x6" thrift:"26"`
+	X07  int64              `json:"x7,omitempty" protobuf:"varint,27,opt,name=x7" thrift:"27"`
+	X08  int64              `json:"x8,omitempty" protobuf:"varint,28,opt,name=x8" thrift:"28"`
+	X09  int64              `json:"x9,omitempty" protobuf:"varint,29,opt,name=x9" thrift:"29"`
+	X10  int64              `json:"x10,omitempty" protobuf:"varint,30,opt,name=x10" thrift:"30"`
+	X11  int64              `json:"x11,omitempty" protobuf:"varint,31,opt,name=x11" thrift:"31"`
+	X12  int64              `json:"x12,omitempty" protobuf:"varint,32,opt,name=x12" thrift:"32"`
+	X13  int64              `json:"x13,omitempty" protobuf:"varint,33,opt,name=x13" thrift:"33"`
+	X14  int64              `json:"x14,omitempty" protobuf:"varint,34,opt,name=x14" thrift:"34"`
+	X15  int64              `json:"x15,omitempty" protobuf:"varint,35,opt,name=x15" thrift:"35"`
+	X16  int64              `json:"x16,omitempty" protobuf:"varint,36,opt,name=x16" thrift:"36"`
+	X17  int64              `json:"x17,omitempty" protobuf:"varint,37,opt,name=x17" thrift:"37"`
+	X18  int64              `json:"x18,omitempty" protobuf:"varint,38,opt,name=x18" thrift:"38"`
+	X19  int64              `json:"x19,omitempty" protobuf:"varint,39,opt,name=x19" thrift:"39"`
+	X20  int64              `json:"x20,omitempty" protobuf:"varint,40,opt,name=x20" thrift:"40"`
+	X21  int64              `json:"x21,omitempty" protobuf:"varint,41,opt,name=x21" thrift:"41"`
+	X22  int64              `json:"x22,omitempty" protobuf:"varint,42,opt,name=x22" thrift:"42"`
+	X23  int64              `json:"x23,omitempty" protobuf:"varint,43,opt,name=x23" thrift:"43"`
 }
 
 type Peer223 struct {
@@ -3141,11 +8741,36 @@ type Peer223 struct {
 }
 
 type Rec224 struct {
-	V    int64    `json:"v" protobuf:"varint,1,opt,name=v" thrift:"1"`
-	Next *Rec224  `json:"next,omitempty" protobuf:"bytes,2,opt,name=next" thrift:"2"`
-	Kids []Rec224 `json:"kids,omitempty" protobuf:"bytes,3,rep,name=kids" thrift:"3"`
-	Peer *Peer224 `json:"peer,omitempty" protobuf:"bytes,4,opt,name=peer" thrift:"4"`
-	S    string   `json:"s,omitempty" protobuf:"bytes,5,opt,name=s" thrift:"5"`
+	M    map[string]Peer224 `json:"m,omitempty" protobuf:"bytes,6,rep,name=m" protobuf_key:"bytes,1,opt,name=key" protobuf_val:"bytes,2,opt,name=value" thrift:"6"`
+	V    int64              `json:"v" protobuf:"varint,1,opt,name=v" thrift:"1"`
+	Next *Rec224            `json:"next,omitempty" protobuf:"bytes,2,opt,name=next" thrift:"2"`
+	Kids []Rec224           `json:"kids,omitempty" protobuf:"bytes,3,rep,name=kids" thrift:"3"`
+	Peer *Peer224           `json:"peer,omitempty" protobuf:"bytes,4,opt,name=peer" thrift:"4"`
+	S    string             `json:"s,omitempty" protobuf:"bytes,5,opt,name=s" thrift:"5"`
+	X00  int64              `json:"x0,omitempty" protobuf:"varint,20,opt,name=x0" thrift:"20"`
+	X01  int64              `json:"x1,omitempty" protobuf:"varint,21,opt,name=x1" thrift:"21"`
+	X02  int64              `json:"x2,omitempty" protobuf:"varint,22,opt,name=x2" thrift:"22"`
+	X03  int64              `json:"x3,omitempty" protobuf:"varint,23,opt,name=x3" thrift:"23"`
+	X04  int64              `json:"x4,omitempty" protobuf:"varint,24,opt,name=x4" thrift:"24"`
+	X05  int64              `json:"x5,omitempty" protobuf:"varint,25,opt,name=x5" thrift:"25"`
+	X06  int64              `json:"x6,omitempty" protobuf:"varint,26,opt,name=x6" thrift:"26"`
+	X07  int64              `json:"x7,omitempty" protobuf:"varint,27,opt,name=x7" thrift:"27"`
+	X08  int64              `json:"x8,omitempty" protobuf:"varint,28,opt,name=x8" thrift:"28"`
+	X09  int64              `json:"x9,omitempty" protobuf:"varint,29,opt,name=x9" thrift:"29"`
+	X10  int64              `json:"x10,omitempty" protobuf:"varint,30,opt,name=x10" thrift:"30"`
+	X11  int64              `json:"x11,omitempty" protobuf:"varint,31,opt,name=x11" thrift:"31"`
+	X12  int64              `json:"x12,omitempty" protobuf:"varint,32,opt,name=x12" thrift:"32"`
+	X13  int64              `json:"x13,omitempty" protobuf:"varint,33,opt,name=x13" thrift:"33"`
+	X14  int64              `json:"x14,omitempty" protobuf:"varint,34,opt,name=x14" thrift:"34"`
+	X15  int64              `json:"x15,omitempty" protobuf:"varint,35,opt,name=x15" thrift:"35"`
+	X16  int64              `json:"x16,omitempty" protobuf:"varint,36,opt,name=x16" thrift:"36"`
+	X17  int64              `json:"x17,omitempty" protobuf:"varint,37,opt,name=x17" thrift:"37"`
+	X18  int64              `json:"x18,omitempty" protobuf:"varint,38,opt,name=x18" thrift:"38"`
+	X19  int64              `json:"x19,omitempty" protobuf:"varint,39,opt,name=x19" thrift:"39"`
+	X20  int64              `json:"x20,omitempty" protobuf:"varint,40,opt,name=x20" thrift:"40"`
+	X21  int64              `json:"x21,omitempty" protobuf:"varint,41,opt,name=x21" thrift:"41"`
+	X22  int64              `json:"x22,omitempty" protobuf:"varint,42,opt,name=x22" thrift:"42"`
+	X23  int64              `json:"x23,omitempty" protobuf:"varint,43,opt,name=x23" thrift:"43"`
 }
 
 type Peer224 struct {
@@ -3155,11 +8780,36 @@ type Peer224 struct {
 }
 
 type Rec225 struct {
-	V    int64    `json:"v" protobuf:"varint,1,opt,name=v" thrift:"1"`
-	Next *Rec225  `json:"next,omitempty" protobuf:"bytes,2,opt,name=next" thrift:"2"`
-	Kids []Rec225 `json:"kids,omitempty" protobuf:"bytes,3,rep,name=kids" thrift:"3"`
-	Peer *Peer225 `json:"peer,omitempty" protobuf:"bytes,4,opt,name=peer" thrift:"4"`
-	S    string   `json:"s,omitempty" protobuf:"bytes,5,opt,name=s" thrift:"5"`
+	M    map[string]Peer225 `json:"m,omitempty" protobuf:"bytes,6,rep,name=m" protobuf_key:"bytes,1,opt,name=key" protobuf_val:"bytes,2,opt,name=value" thrift:"6"`
+	V    int64              `json:"v" protobuf:"varint,1,opt,name=v" thrift:"1"`
+	Next *Rec225            `json:"next,omitempty" protobuf:"bytes,2,opt,name=next" thrift:"2"`
+	Kids []Rec225           `json:"kids,omitempty" protobuf:"bytes,3,rep,name=kids" thrift:"3"`
+	Peer *Peer225           `json:"peer,omitempty" protobuf:"bytes,4,opt,name=peer" thrift:"4"`
+	S    string             `json:"s,omitempty" protobuf:"bytes,5,opt,name=s" thrift:"5"`
+	X00  int64              `json:"x0,omitempty" protobuf:"varint,20,opt,name=x0" thrift:"20"`
+	X01  int64              `json:"x1,omitempty" protobuf:"varint,21,opt,name=x1" thrift:"21"`
+	X02  int64              `json:"x2,omitempty" protobuf:"varint,22,opt,name=x2" thrift:"22"`
+	X03  int64              `json:"x3,omitempty" protobuf:"varint,23,opt,name=x3" thrift:"23"`
+	X04  int64              `json:"x4,omitempty" protobuf:"varint,24,opt,name=x4" thrift:"24"`
+	X05  int64              `json:"x5,omitempty" protobuf:"varint,25,opt,name=x5" thrift:"25"`
+	X06  int64              `json:"x6,omitempty" protobuf:"varint,26,opt,name=x6" thrift:"26"`
+	X07  int64              `json:"x7,omitempty" protobuf:"varint,27,opt,name=x7" thrift:"27"`
+	X08  int64              `json:"x8,omitempty" protobuf:"varint,28,opt,name=x8" thrift:"28"`
+	X09  int64              `json:"x9,omitempty" protobuf:"varint,29,opt,name=x9" thrift:"29"`
+	X10  int64              `json:"x10,omitempty" protobuf:"varint,30,opt,name=x10" thrift:"30"`
+	X11  int64              `json:"x11,omitempty" protobuf:"varint,31,opt,name=x11" thrift:"31"`
+	X12  int64              `json:"x12,omitempty" protobuf:"varint,32,opt,name=x12" thrift:"32"`
+	X13  int64              `json:"x13,omitempty" protobuf:"varint,33,opt,name=x13" thrift:"33"`
+	X14  int64              `json:"x14,omitempty" protobuf:"varint,34,opt,name=x14" thrift:"34"`
+	X15  int64              `json:"x15,omitempty" protobuf:"varint,35,opt,name=x15" thrift:"35"`
+	X16  int64              `json:"x16,omitempty" protobuf:"varint,36,opt,name=x16" thrift:"36"`
+	X17  int64              `json:"x17,omitempty" protobuf:"varint,37,opt,name=x17" thrift:"37"`
+	X18  int64              `json:"x18,omitempty" protobuf:"varint,38,opt,name=x18" thrift:"38"`
+	X19  int64              `json:"x19,omitempty" protobuf:"varint,39,opt,name=x19" thrift:"39"`
+	X20  int64              `json:"x20,omitempty" protobuf:"varint,40,opt,name=x20" thrift:"40"`
+	X21  int64              `json:"x21,omitempty" protobuf:"varint,41,opt,name=x21" thrift:"41"`
+	X22  int64              `json:"x22,omitempty" protobuf:"varint,42,opt,name=x22" thrift:"42"`
+	X23  int64              `json:"x23,omitempty" protobuf:"varint,43,opt,name=x23" thrift:"43"`
 }
 
 type Peer225 struct {
@@ -3169,11 +8819,36 @@ type Peer225 struct {
 }
 
 type Rec226 struct {
-	V    int64    `json:"v" protobuf:"varint,1,opt,name=v" thrift:"1"`
-	Next *Rec226  `json:"next,omitempty" protobuf:"bytes,2,opt,name=next" thrift:"2"`
-	Kids []Rec226 `json:"kids,omitempty" protobuf:"bytes,3,rep,name=kids" thrift:"3"`
-	Peer *Peer226 `json:"peer,omitempty" protobuf:"bytes,4,opt,name=peer" thrift:"4"`
-	S    string   `json:"s,omitempty" protobuf:"bytes,5,opt,name=s" thrift:"5"`
+	M    map[string]Peer226 `json:"m,omitempty" protobuf:"bytes,6,rep,name=m" protobuf_key:"bytes,1,opt,name=key" protobuf_val:"bytes,2,opt,name=value" thrift:"6"`
+	V    int64              `json:"v" protobuf:"varint,1,opt,name=v" thrift:"1"`
+	Next *Rec226            `json:"next,omitempty" protobuf:"bytes,2,opt,name=next" thrift:"2"`
+	Kids []Rec226           `json:"kids,omitempty" protobuf:"bytes,3,rep,name=kids" thrift:"3"`
+	Peer *Peer226           `json:"peer,omitempty" protobuf:"bytes,4,opt,name=peer" thrift:"4"`
+	S    string             `json:"s,omitempty" protobuf:"bytes,5,opt,name=s" thrift:"5"`
+	X00  int64              `json:"x0,omitempty" protobuf:"varint,20,opt,name=x0" thrift:"20"`
+	X01  int64              `json:"x1,omitempty" protobuf:"varint,21,opt,name=x1" thrift:"21"`
+	X02  int64              `json:"x2,omitempty" protobuf:"varint,22,opt,name=x2" thrift:"22"`
+	X03  int64              `json:"x3,omitempty" protobuf:"varint,23,opt,name=x3" thrift:"23"`
+	X04  int64              `json:"x4,omitempty" protobuf:"varint,24,opt,name=x4" thrift:"24"`
+	X05  int64              `json:"x5,omitempty" protobuf:"varint,25,opt,name=x5" thrift:"25"`
+	X06  int64              `json:"x6,omitempty" protobuf:"varint,26,opt,name=x6" thrift:"26"`
+	X07  int64              `json:"x7,omitempty" protobuf:"varint,27,opt,name=x7" thrift:"27"`
+	X08  int64              `json:"x8,omitempty" protobuf:"varint,28,opt,name=x8" thrift:"28"`
+	X09  int64              `json:"x9,omitempty" protobuf:"varint,29,opt,name=x9" thrift:"29"`
+	X10  int64              `json:"x10,omitempty" protobuf:"varint,30,opt,name=x10" thrift:"30"`
+	X11  int64              `json:"x11,omitempty" protobuf:"varint,31,opt,name=x11" thrift:"31"`
+	X12  int64              `json:"x12,omitempty" protobuf:"varint,32,opt,name=x12" thrift:"32"`
+	X13  int64              `json:"x13,omitempty" protobuf:"varint,33,opt,name=x13" thrift:"33"`
+	X14  int64              `json:"x14,omitempty" protobuf:"varint,34,opt,name=x14" thrift:"34"`
+	X15  int64              `json:"x15,omitempty" protobuf:"varint,35,opt,name=x15" thrift:"35"`
+	X16  int64              `json:"x16,omitempty" protobuf:"varint,36,opt,name=x16" thrift:"36"`
+	X17  int64              `json:"x17,omitempty" protobuf:"varint,37,opt,name=x17" thrift:"37"`
+	X18  int64              `json:"x18,omitempty" protobuf:"varint,38,opt,name=x18" thrift:"38"`
+	X19  int64              `json:"x19,omitempty" protobuf:"varint,39,opt,name=x19" thrift:"39"`
+	X20  int64              `json:"x20,omitempty" protobuf:"varint,40,opt,name=x20" thrift:"40"`
+	X21  int64              `json:"x21,omitempty" protobuf:"varint,41,opt,name=x21" thrift:"41"`
+	X22  int64              `json:"x22,omitempty" protobuf:"varint,42,opt,name=x22" thrift:"42"`
+	X23  int64              `json:"x23,omitempty" protobuf:"varint,43,opt,name=x23" thrift:"43"`
 }
 
 type Peer226 struct {
@@ -3183,11 +8858,36 @@ type Peer226 struct {
 }
 
 type Rec227 struct {
-	V    int64    `json:"v" protobuf:"varint,1,opt,name=v" thrift:"1"`
-	Next *Rec227  `json:"next,omitempty" protobuf:"bytes,2,opt,name=next" thrift:"2"`
-	Kids []Rec227 `json:"kids,omitempty" protobuf:"bytes,3,rep,name=kids" thrift:"3"`
-	Peer *Peer227 `json:"peer,omitempty" protobuf:"bytes,4,opt,name=peer" thrift:"4"`
-	S    string   `json:"s,omitempty" protobuf:"bytes,5,opt,name=s" thrift:"5"`
+	M    map[string]Peer227 `json:"m,omitempty" protobuf:"bytes,6,rep,name=m" protobuf_key:"bytes,1,opt,name=key" protobuf_val:"bytes,2,opt,name=value" thrift:"6"`
+	V    int64              `json:"v" protobuf:"varint,1,opt,name=v" thrift:"1"`
+	Next *Rec227            `json:"next,omitempty" protobuf:"bytes,2,opt,name=next" thrift:"2"`
+	Kids []Rec227           `json:"kids,omitempty" protobuf:"bytes,3,rep,name=kids" thrift:"3"`
+	Peer *Peer227           `json:"peer,omitempty" protobuf:"bytes,4,opt,name=peer" thrift:"4"`
+	S    string             `json:"s,omitempty" protobuf:"bytes,5,opt,name=s" thrift:"5"`
+	X00  int64              `json:"x0,omitempty" protobuf:"varint,20,opt,name=x0" thrift:"20"`
+	X01  int64              `json:"x1,omitempty" protobuf:"varint,21,opt,name=x1" thrift:"21"`
+	X02  int64              `json:"x2,omitempty" protobuf:"varint,22,opt,name=x2" thrift:"22"`
+	X03  int64              `json:"x3,omitempty" protobuf:"varint,23,opt,name=x3" thrift:"23"`
+	X04  int64              `json:"x4,omitempty" protobuf:"varint,24,opt,name=x4" thrift:"24"`
+	X05  int64              `json:"x5,omitempty" protobuf:"varint,25,opt,name=x5" thrift:"25"`
+	X06  int64              `json:"x6,omitempty" protobuf:"varint,26,opt,name=x6" thrift:"26"`
+	X07  int64              `json:"x7,omitempty" protobuf:"varint,27,opt,name=x7" thrift:"27"`
+	X08  int64              `json:"x8,omitempty" protobuf:"varint,28,opt,name=x8" thrift:"28"`
+	X09  int64              `json:"x9,omitempty" protobuf:"varint,29,opt,name=x9" thrift:"29"`
+	X10  int64              `json:"x10,omitempty" protobuf:"varint,30,opt,name=x10" thrift:"30"`
+	X11  int64              `json:"x11,omitempty" protobuf:"varint,31,opt,name=x11" thrift:"31"`
+	X12  int64              `json:"x12,omitempty" protobuf:"varint,32,opt,name=x12" thrift:"32"`
+	X13  int64              `json:"x13,omitempty" protobuf:"varint,33,opt,name=x13" thrift:"33"`
+	X14  int64              `json:"x14,omitempty" protobuf:"varint,34,opt,name=x14" thrift:"34"`
+	X15  int64              `json:"x15,omitempty" protobuf:"varint,35,opt,name=x15" thrift:"35"`
+	X16  int64              `json:"x16,omitempty" protobuf:"varint,36,opt,name=x16" thrift:"36"`
+	X17  int64              `json:"x17,omitempty" protobuf:"varint,37,opt,name=x17" thrift:"37"`
+	X18  int64              `json:"x18,omitempty" protobuf:"varint,38,opt,name=x18" thrift:"38"`
+	X19  int64              `json:"x19,omitempty" protobuf:"varint,39,opt,name=x19" thrift:"39"`
+	X20  int64              `json:"x20,omitempty" protobuf:"varint,40,opt,name=x20" thrift:"40"`
+	X21  int64              `json:"x21,omitempty" protobuf:"varint,41,opt,name=x21" thrift:"41"`
+	X22  int64              `json:"x22,omitempty" protobuf:"varint,42,opt,name=x22" thrift:"42"`
+	X23  int64              `json:"x23,omitempty" protobuf:"varint,43,opt,name=x23" thrift:"43"`
 }
 
 type Peer227 struct {
@@ -3197,11 +8897,36 @@ type Peer227 struct {
 }
 
 type Rec228 struct {
-	V    int64    `json:"v" protobuf:"varint,1,opt,name=v" thrift:"1"`
-	Next *Rec228  `json:"next,omitempty" protobuf:"bytes,2,opt,name=next" thrift:"2"`
-	Kids []Rec228 `json:"kids,omitempty" protobuf:"bytes,3,rep,name=kids" thrift:"3"`
-	Peer *Peer228 `json:"peer,omitempty" protobuf:"bytes,4,opt,name=peer" thrift:"4"`
-	S    string   `json:"s,omitempty" protobuf:"bytes,5,opt,name=s" thrift:"5"`
+	M    map[string]Peer228 `json:"m,omitempty" protobuf:"bytes,6,rep,name=m" protobuf_key:"bytes,1,opt,name=key" protobuf_val:"bytes,2,opt,name=value" thrift:"6"`
+	V    int64              `json:"v" protobuf:"varint,1,opt,name=v" thrift:"1"`
+	Next *Rec228            `json:"next,omitempty" protobuf:"bytes,2,opt,name=next" thrift:"2"`
+	Kids []Rec228           `json:"kids,omitempty" protobuf:"bytes,3,rep,name=kids" thrift:"3"`
+	Peer *Peer228           `json:"peer,omitempty" protobuf:"bytes,4,opt,name=peer" thrift:"4"`
+	S    string             `json:"s,omitempty" protobuf:"bytes,5,opt,name=s" thrift:"5"`
+	X00  int64              `json:"x0,omitempty" protobuf:"varint,20,opt,name=x0" thrift:"20"`
+	X01  int64              `json:"x1,omitempty" protobuf:"varint,21,opt,name=x1" thrift:"21"`
+	X02  int64              `json:"x2,omitempty" protobuf:"varint,22,opt,name=x2" thrift:"22"`
+	X03  int64              `json:"x3,omitempty" protobuf:"varint,23,opt,name=x3" thrift:"23"`
+	X04  int64              `json:"x4,omitempty" protobuf:"varint,24,opt,name=x4" thrift:"24"`
+	X05  int64              `json:"x5,omitempty" protobuf:"varint,25,opt,name=x5" thrift:"25"`
+	X06  int64              `json:"x6,omitempty" protobuf:"varint,26,opt,name=x6" thrift:"26"`
+	X07  int64              `json:"x7,omitempty" protobuf:"varint,27,opt,name=x7" thrift:"27"`
+	X08  int64              `json:"x8,omitempty" protobuf:"varint,28,opt,name=x8" thrift:"28"`
+	X09  int64              `json:"x9,omitempty" protobuf:"varint,29,opt,name=x9" thrift:"29"`
+	X10  int64              `json:"x10,omitempty" protobuf:"varint,30,opt,name=x10" thrift:"30"`
+	X11  int64              `json:"x11,omitempty" protobuf:"varint,31,opt,name=x11" thrift:"31"`
+	X12  int64              `json:"x12,omitempty" protobuf:"varint,32,opt,name=x12" thrift:"32"`
+	X13  int64              `json:"x13,omitempty" protobuf:"varint,33,opt,name=x13" thrift:"33"`
+	X14  int64              `json:"x14,omitempty" protobuf:"varint,34,opt,name=x14" thrift:"34"`
+	X15  int64              `json:"x15,omitempty" protobuf:"varint,35,opt,name=x15" thrift:"35"`
+	X16  int64              `json:"x16,omitempty" protobuf:"varint,36,opt,name=x16" thrift:"36"`
+	X17  int64              `json:"x17,omitempty" protobuf:"varint,37,opt,name=x17" thrift:"37"`
+	X18  int64              `json:"x18,omitempty" protobuf:"varint,38,opt,name=x18" thrift:"38"`
+	X19  int64              `json:"x19,omitempty" protobuf:"varint,39,opt,name=x19" thrift:"39"`
+	X20  int64              `json:"x20,omitempty" protobuf:"varint,40,opt,name=x20" thrift:"40"`
+	X21  int64              `json:"x21,omitempty" protobuf:"varint,41,opt,name=x21" thrift:"41"`
+	X22  int64              `json:"x22,omitempty" protobuf:"varint,42,opt,name=x22" thrift:"42"`
+	X23  int64              `json:"x23,omitempty" protobuf:"varint,43,opt,name=x23" thrift:"43"`
 }
 
 type Peer228 struct {
@@ -3211,11 +8936,36 @@ type Peer228 struct {
 }
 
 type Rec229 struct {
-	V    int64    `json:"v" protobuf:"varint,1,opt,name=v" thrift:"1"`
-	Next *Rec229  `json:"next,omitempty" protobuf:"bytes,2,opt,name=next" thrift:"2"`
-	Kids []Rec229 `json:"kids,omitempty" protobuf:"bytes,3,rep,name=kids" thrift:"3"`
-	Peer *Peer229 `json:"peer,omitempty" protobuf:"bytes,4,opt,name=peer" thrift:"4"`
-	S    string   `json:"s,omitempty" protobuf:"bytes,5,opt,name=s" thrift:"5"`
+	M    map[string]Peer229 `json:"m,omitempty" protobuf:"bytes,6,rep,name=m" protobuf_key:"bytes,1,opt,name=key" protobuf_val:"bytes,2,opt,name=value" thrift:"6"`
+	V    int64              `json:"v" protobuf:"varint,1,opt,name=v" thrift:"1"`
+	Next *Rec229            `json:"next,omitempty" protobuf:"bytes,2,opt,name=next" thrift:"2"`
+	Kids []Rec229           `json:"kids,omitempty" protobuf:"bytes,3,rep,name=kids" thrift:"3"`
+	Peer *Peer229           `json:"peer,omitempty" protobuf:"bytes,4,opt,name=peer" thrift:"4"`
+	S    string             `json:"s,omitempty" protobuf:"bytes,5,opt,name=s" thrift:"5"`
+	X00  int64              `json:"x0,omitempty" protobuf:"varint,20,opt,name=x0" thrift:"20"`
+	X01  int64              `json:"x1,omitempty" protobuf:"varint,21,opt,name=x1" thrift:"21"`
+	X02  int64              `json:"x2,omitempty" protobuf:"varint,22,opt,name=x2" thrift:"22"`
+	X03  int64              `json:"x3,omitempty" protobuf:"varint,23,opt,name=x3" thrift:"23"`
+	X04  int64              `json:"x4,omitempty" protobuf:"varint,24,opt,name=x4" thrift:"24"`
+	X05  int64              `json:"x5,omitempty" protobuf:"varint,25,opt,name=x5" thrift:"25"`
+	X06  int64              `json:"x6,omitempty" protobuf:"varint,26,opt,name=x6" thrift:"26"`
+	X07  int64              `json:"x7,omitempty" protobuf:"varint,27,opt,name=x7" thrift:"27"`
+	X08  int64              `json:"x8,omitempty" protobuf:"varint,28,opt,name=x8" thrift:"28"`
+	X09  int64              `json:"x9,omitempty" protobuf:"varint,29,opt,name=x9" thrift:"29"`
+	X10  int64              `json:"x10,omitempty" protobuf:"varint,30,opt,name=x10" thrift:"30"`
+	X11  int64              `json:"x11,omitempty" protobuf:"varint,31,opt,name=x11" thrift:"31"`
+	X12  int64              `json:"x12,omitempty" protobuf:"varint,32,opt,name=x12" thrift:"32"`
+	X13  int64              `json:"x13,omitempty" protobuf:"varint,33,opt,name=x13" thrift:"33"`
+	X14  int64              `json:"x14,omitempty" protobuf:"varint,34,opt,name=x14" thrift:"34"`
+	X15  int64              `json:"x15,omitempty" protobuf:"varint,35,opt,name=x15" thrift:"35"`
+	X16  int64              `json:"x16,omitempty" protobuf:"varint,36,opt,name=x16" thrift:"36"`
+	X17  int64              `json:"x17,omitempty" protobuf:"varint,37,opt,name=x17" thrift:"37"`
+	X18  int64              `json:"x18,omitempty" protobuf:"varint,38,opt,name=x18" thrift:"38"`
+	X19  int64              `json:"x19,omitempty" protobuf:"varint,39,opt,name=x19" thrift:"39"`
+	X20  int64              `json:"x20,omitempty" protobuf:"varint,40,opt,name=x20" thrift:"40"`
+	X21  int64              `json:"x21,omitempty" protobuf:"varint,41,opt,name=x21" thrift:"41"`
+	X22  int64              `json:"x22,omitempty" protobuf:"varint,42,opt,name=x22" thrift:"42"`
+	X23  int64              `json:"x23,omitempty" protobuf:"varint,43,opt,name=x23" thrift:"43"`
 }
 
 type Peer229 struct {
@@ -3225,11 +8975,36 @@ type Peer229 struct {
 }
 
 type Rec230 struct {
-	V    int64    `json:"v" protobuf:"varint,1,opt,name=v" thrift:"1"`
-	Next *Rec230  `json:"next,omitempty" protobuf:"bytes,2,opt,name=next" thrift:"2"`
-	Kids []Rec230 `json:"kids,omitempty" protobuf:"bytes,3,rep,name=kids" thrift:"3"`
-	Peer *Peer230 `json:"peer,omitempty" protobuf:"bytes,4,opt,name=peer" thrift:"4"`
-	S    string   `json:"s,omitempty" protobuf:"bytes,5,opt,name=s" thrift:"5"`
+	M    map[string]Peer230 `json:"m,omitempty" protobuf:"bytes,6,rep,name=m" protobuf_key:"bytes,1,opt,name=key" protobuf_val:"bytes,2,opt,name=value" thrift:"6"`
+	V    int64              `json:"v" protobuf:"varint,1,opt,name=v" thrift:"1"`
+	Next *Rec230            `json:"next,omitempty" protobuf:"bytes,2,opt,name=next" thrift:"2"`
+	Kids []Rec230           `json:"kids,omitempty" protobuf:"bytes,3,rep,name=kids" thrift:"3"`
+	Peer *Peer230           `json:"peer,omitempty" protobuf:"bytes,4,opt,name=peer" thrift:"4"`
+	S    string             `json:"s,omitempty" protobuf:"bytes,5,opt,name=s" thrift:"5"`
+	X00  int64              `json:"x0,omitempty" protobuf:"varint,20,opt,name=x0" thrift:"20"`
+	X01  int64              `json:"x1,omitempty" protobuf:"varint,21,opt,name=x1" thrift:"21"`
+	X02  int64              `json:"x2,omitempty" protobuf:"varint,22,opt,name=x2" thrift:"22"`
+	X03  int64              `json:"x3,omitempty" protobuf:"varint,23,opt,name=x3" thrift:"23"`
+	X04  int64              `json:"x4,omitempty" protobuf:"varint,24,opt,name=x4" thrift:"24"`
+	X05  int64              `json:"x5,omitempty" protobuf:"varint,25,opt,name=x5" thrift:"25"`
+	X06  int64              `json:"x6,omitempty" protobuf:"varint,26,opt,name=x6" thrift:"26"`
+	X07  int64              `json:"x7,omitempty" protobuf:"varint,27,opt,name=x7" thrift:"27"`
+	X08  int64              `json:"x8,omitempty" protobuf:"varint,28,opt,name=x8" thrift:"28"`
+	X09  int64              `json:"x9,omitempty" protobuf:"varint,29,opt,name=x9" thrift:"29"`
+	X10  int64              `json:"x10,omitempty" protobuf:"varint,30,opt,name=x10" thrift:"30"`
+	X11  int64              `json:"x11,omitempty" protobuf:"varint,31,opt,name=x11" thrift:"31"`
+	X12  int64              `json:"x12,omitempty" protobuf:"varint,32,opt,name=x12" thrift:"32"`
+	X13  int64              `json:"x13,omitempty" protobuf:"varint,33,opt,name=x13" thrift:"33"`
+	X14  int64              `json:"x14,omitempty" protobuf:"varint,34,opt,name=x14" thrift:"34"`
+	X15  int64              `json:"x15,omitempty" protobuf:"varint,35,opt,name=x15" thrift:"35"`
+	X16  int64              `json:"x16,omitempty" protobuf:"varint,36,opt,name=x16" thrift:"36"`
+	X17  int64              `json:"x17,omitempty" protobuf:"varint,37,opt,name=x17" thrift:"37"`
+	X18  int64              `json:"x18,omitempty" protobuf:"varint,38,opt,name=x18" thrift:"38"`
+	X19  int64              `json:"x19,omitempty" protobuf:"varint,39,opt,name=x19" thrift:"39"`
+	X20  int64              `json:"x20,omitempty" protobuf:"varint,40,opt,name=x20" thrift:"40"`
+	X21  int64              `json:"x21,omitempty" protobuf:"varint,41,opt,name=x21" thrift:"41"`
+	X22  int64              `json:"x22,omitempty" protobuf:"varint,42,opt,name=x22" thrift:"42"`
+	X23  int64              `json:"x23,omitempty" protobuf:"varint,43,opt,name=x23" thrift:"43"`
 }
 
 type Peer230 struct {
@@ -3239,11 +9014,36 @@ type Peer230 struct {
 }
 
 type Rec231 struct {
-	V    int64    `json:"v" protobuf:"varint,1,opt,name=v" thrift:"1"`
-	Next *Rec231  `json:"next,omitempty" protobuf:"bytes,2,opt,name=next" thrift:"2"`
-	Kids []Rec231 `json:"kids,omitempty" protobuf:"bytes,3,rep,name=kids" thrift:"3"`
-	Peer *Peer231 `json:"peer,omitempty" protobuf:"bytes,4,opt,name=peer" thrift:"4"`
-	S    string   `json:"s,omitempty" protobuf:"bytes,5,opt,name=s" thrift:"5"`
+	M    map[string]Peer231 `json:"m,omitempty" protobuf:"bytes,6,rep,name=m" protobuf_key:"bytes,1,opt,name=key" protobuf_val:"bytes,2,opt,name=value" thrift:"6"`
+	V    int64              `json:"v" protobuf:"varint,1,opt,name=v" thrift:"1"`
+	Next *Rec231            `json:"next,omitempty" protobuf:"bytes,2,opt,name=next" thrift:"2"`
+	Kids []Rec231           `json:"kids,omitempty" protobuf:"bytes,3,rep,name=kids" thrift:"3"`
+	Peer *Peer231           `json:"peer,omitempty" protobuf:"bytes,4,opt,name=peer" thrift:"4"`
+	S    string             `json:"s,omitempty" protobuf:"bytes,5,opt,name=s" thrift:"5"`
+	X00  int64              `json:"x0,omitempty" protobuf:"varint,20,opt,name=x0" thrift:"20"`
+	X01  int64              `json:"x1,omitempty" protobuf:"varint,21,opt,name=x1" thrift:"21"`
+	X02  int64              `json:"x2,omitempty" protobuf:"varint,22,opt,name=x2" thrift:"22"`
+	X03  int64              `json:"x3,omitempty" protobuf:"varint,23,opt,name=x3" thrift:"23"`
+	X04  int64              `json:"x4,omitempty" protobuf:"varint,24,opt,name=x4" thrift:"24"`
+	X05  int64              `json:"x5,omitempty" protobuf:"varint,25,opt,name=x5" thrift:"25"`
+	X06  int64              `json:"x6,omitempty" protobuf:"varint,26,opt,name=x6" thrift:"26"`
+	X07  int64              `json:"x7,omitempty" protobuf:"varint,27,opt,name=x7" thrift:"27"`
+	X08  int64              `json:"x8,omitempty" protobuf:"varint,28,opt,name=x8" thrift:"28"`
+	X09  int64              `json:"x9,omitempty" protobuf:"varint,29,opt,name=x9" thrift:"29"`
+	X10  int64              `json:"x10,omitempty" protobuf:"varint,30,opt,name=x10" thrift:"30"`
+	X11  int64              `json:"x11,omitempty" protobuf:"varint,31,opt,name=x11" thrift:"31"`
+	X12  int64              `json:"x12,omitempty" protobuf:"varint,32,opt,name=x12" thrift:"32"`
+	X13  int64              `json:"x13,omitempty" protobuf:"varint,33,opt,name=x13" thrift:"33"`
+	X14  int64              `json:"x14,omitempty" protobuf:"varint,34,opt,name=x14" thrift:"34"`
+	X15  int64              `json:"x15,omitempty" protobuf:"varint,35,opt,name=x15" thrift:"35"`
+	X16  int64              `json:"x16,omitempty" protobuf:"varint,36,opt,name=x16" thrift:"36"`
+	X17  int64              `json:"x17,omitempty" protobuf:"varint,37,opt,name=x17" thrift:"37"`
+	X18  int64              `json:"x18,omitempty" protobuf:"varint,38,opt,name=x18" thrift:"38"`
+	X19  int64              `json:"x19,omitempty" protobuf:"varint,39,opt,name=x19" thrift:"39"`
+	X20  int64              `json:"x20,omitempty" protobuf:"varint,40,opt,name=x20" thrift:"40"`
+	X21  int64              `json:"x21,omitempty" protobuf:"varint,41,opt,name=x21" thrift:"41"`
+	X22  int64              `json:"x22,omitempty" protobuf:"varint,42,opt,name=x22" thrift:"42"`
+	X23  int64              `json:"x23,omitempty" protobuf:"varint,43,opt,name=x23" thrift:"43"`
 }
 
 type Peer231 struct {
@@ -3253,11 +9053,36 @@ type Peer231 struct {
 }
 
 type Rec232 struct {
-	V    int64    `json:"v" protobuf:"varint,1,opt,name=v" thrift:"1"`
-	Next *Rec232  `json:"next,omitempty" protobuf:"bytes,2,opt,name=next" thrift:"2"`
-	Kids []Rec232 `json:"kids,omitempty" protobuf:"bytes,3,rep,name=kids" thrift:"3"`
-	Peer *Peer232 `json:"peer,omitempty" protobuf:"bytes,4,opt,name=peer" thrift:"4"`
-	S    string   `json:"s,omitempty" protobuf:"bytes,5,opt,name=s" thrift:"5"`
+	M    map[string]Peer232 `json:"m,omitempty" protobuf:"bytes,6,rep,name=m" protobuf_key:"bytes,1,opt,name=key" protobuf_val:"bytes,2,opt,name=value" thrift:"6"`
+	V    int64              `json:"v" protobuf:"varint,1,opt,name=v" thrift:"1"`
+	Next *Rec232            `json:"next,omitempty" protobuf:"bytes,2,opt,name=next" thrift:"2"`
+	Kids []Rec232           `json:"kids,omitempty" protobuf:"bytes,3,rep,name=kids" thrift:"3"`
+	Peer *Peer232           `json:"peer,omitempty" protobuf:"bytes,4,opt,name=peer" thrift:"4"`
+	S    string             `json:"s,omitempty" protobuf:"bytes,5,opt,name=s" thrift:"5"`
+	X00  int64              `json:"x0,omitempty" protobuf:"varint,20,opt,name=x0" thrift:"20"`
+	X01  int64              `json:"x1,omitempty" protobuf:"varint,21,opt,name=x1" thrift:"21"`
+	X02  int64              `json:"x2,omitempty" protobuf:"varint,22,opt,name=x2" thrift:"22"`
+	X03  int64              `json:"x3,omitempty" protobuf:"varint,23,opt,name=x3" thrift:"23"`
+	X04  int64              `json:"x4,omitempty" protobuf:"varint,24,opt,name=x4" thrift:"24"`
+	X05  int64              `json:"x5,omitempty" protobuf:"varint,25,opt,name=x5" thrift:"25"`
+	X06  int64              `json:"x6,omitempty" protobuf:"varint,26,opt,name=x6" thrift:"26"`
+	X07  int64              `json:"x7,omitempty" protobuf:"varint,27,opt,name=x7" thrift:"27"`
+	X08  int64              `json:"x8,omitempty" protobuf:"varint,28,opt,name=x8" thrift:"28"`
+	X09  int64              `json:"x9,omitempty" protobuf:"varint,29,opt,name=x9" thrift:"29"`
+	X10  int64              `json:"x10,omitempty" protobuf:"varint,30,opt,name=x10" thrift:"30"`
+	X11  int64              `json:"x11,omitempty" protobuf:"varint,31,opt,name=x11" thrift:"31"`
+	X12  int64              `json:"x12,omitempty" protobuf:"varint,32,opt,name=x12" thrift:"32"`
+	X13  int64              `json:"x13,omitempty" protobuf:"varint,33,opt,name=x13" thrift:"33"`
+	X14  int64              `json:"x14,omitempty" protobuf:"varint,34,opt,name=x14" thrift:"34"`
+	X15  int64              `json:"x15,omitempty" protobuf:"varint,35,opt,name=x15" thrift:"35"`
+	X16  int64              `json:"x16,omitempty" protobuf:"varint,36,opt,name=x16" thrift:"36"`
+	X17  int64              `json:"x17,omitempty" protobuf:"varint,37,opt,name=x17" thrift:"37"`
+	X18  int64              `json:"x18,omitempty" protobuf:"varint,38,opt,name=x18" thrift:"38"`
+	X19  int64              `json:"x19,omitempty" protobuf:"varint,39,opt,name=x19" thrift:"39"`
+	X20  int64              `json:"x20,omitempty" protobuf:"varint,40,opt,name=x20" thrift:"40"`
+	X21  int64              `json:"x21,omitempty" protobuf:"varint,41,opt,name=x21" thrift:"41"`
+	X22  int64              `json:"x22,omitempty" protobuf:"varint,42,opt,name=x22" thrift:"42"`
+	X23  int64              `json:"x23,omitempty" protobuf:"varint,43,opt,name=x23" thrift:"43"`
 }
 
 type Peer232 struct {
@@ -3267,11 +9092,36 @@ type Peer232 struct {
 }
 
 type Rec233 struct {
-	V    int64    `json:"v" protobuf:"varint,1,opt,name=v" thrift:"1"`
-	Next *Rec233  `json:"next,omitempty" protobuf:"bytes,2,opt,name=next" thrift:"2"`
-	Kids []Rec233 `json:"kids,omitempty" protobuf:"bytes,3,rep,name=kids" thrift:"3"`
-	Peer *Peer233 `json:"peer,omitempty" protobuf:"bytes,4,opt,name=peer" thrift:"4"`
-	S    string   `json:"s,omitempty" protobuf:"bytes,5,opt,name=s" thrift:"5"`
+	M    map[string]Peer233 `json:"m,omitempty" protobuf:"bytes,6,rep,name=m" protobuf_key:"bytes,1,opt,name=key" protobuf_val:"bytes,2,opt,name=value" thrift:"6"`
+	V    int64              `json:"v" protobuf:"varint,1,opt,name=v" thrift:"1"`
+	Next *Rec233            `json:"next,omitempty" protobuf:"bytes,2,opt,name=next" thrift:"2"`
+	Kids []Rec233           `json:"kids,omitempty" protobuf:"bytes,3,rep,name=kids" thrift:"3"`
+	Peer *Peer233           `json:"peer,omitempty" protobuf:"bytes,4,opt,name=peer" thrift:"4"`
+	S    string             `json:"s,omitempty" protobuf:"bytes,5,opt,name=s" thrift:"5"`
+	X00  int64              `json:"x0,omitempty" protobuf:"varint,20,opt,name=x0" thrift:"20"`
+	X01  int64              `json:"x1,omitempty" protobuf:"varint,21,opt,name=x1" thrift:"21"`
+	X02  int64              `json:"x2,omitempty" protobuf:"varint,22,opt,name=x2" thrift:"22"`
+	X03  int64              `json:"x3,omitempty" protobuf:"varint,23,opt,name=x3" thrift:"23"`
+	X04  int64              `json:"x4,omitempty" protobuf:"varint,24,opt,name=x4" thrift:"24"`
+	X05  int64              `json:"x5,omitempty" protobuf:"varint,25,opt,name=x5" thrift:"25"`
+	X06  int64              `json:"x6,omitempty" protobuf:"varint,26,opt,name=x6" thrift:"26"`
+	X07  int64              `json:"x7,omitempty" protobuf:"varint,27,opt,name=x7" thrift:"27"`
+	X08  int64              `json:"x8,omitempty" protobuf:"varint,28,opt,name=x8" thrift:"28"`
+	X09  int64              `json:"x9,omitempty" protobuf:"varint,29,opt,name=x9" thrift:"29"`
+	X10  int64              `json:"x10,omitempty" protobuf:"varint,30,opt,name=x10" thrift:"30"`
+	X11  int64              `json:"x11,omitempty" protobuf:"varint,31,opt,name=x11" thrift:"31"`
+	X12  int64              `json:"x12,omitempty" protobuf:"varint,32,opt,name=x12" thrift:"32"`
+	X13  int64              `json:"x13,omitempty" protobuf:"varint,33,opt,name=x13" thrift:"33"`
+	X14  int64              `json:"x14,omitempty" protobuf:"varint,34,opt,name=x14" thrift:"34"`
+	X15  int64              `json:"x15,omitempty" protobuf:"varint,35,opt,name=x15" thrift:"35"`
+	X16  int64              `json:"x16,omitempty" protobuf:"varint,36,opt,name=x16" thrift:"36"`
+	X17  int64              `json:"x17,omitempty" protobuf:"varint,37,opt,name=x17" thrift:"37"`
+	X18  int64              `json:"x18,omitempty" protobuf:"varint,38,opt,name=x18" thrift:"38"`
+	X19  int64              `json:"x19,omitempty" protobuf:"varint,39,opt,name=x19" thrift:"39"`
+	X20  int64              `json:"x20,omitempty" protobuf:"varint,40,opt,name=x20" thrift:"40"`
+	X21  int64              `json:"x21,omitempty" protobuf:"varint,41,opt,name=x21" thrift:"41"`
+	X22  int64              `json:"x22,omitempty" protobuf:"varint,42,opt,name=x22" thrift:"42"`
+	X23  int64              `json:"x23,omitempty" protobuf:"varint,43,opt,name=x23" thrift:"43"`
 }
 
 type Peer233 struct {
@@ -3281,11 +9131,36 @@ type Peer233 struct {
 }
 
 type Rec234 struct {
-	V    int64    `json:"v" protobuf:"varint,1,opt,name=v" thrift:"1"`
-	Next *Rec234  `json:"next,omitempty" protobuf:"bytes,2,opt,name=next" thrift:"2"`
-	Kids []Rec234 `json:"kids,omitempty" protobuf:"bytes,3,rep,name=kids" thrift:"3"`
-	Peer *Peer234 `json:"peer,omitempty" protobuf:"bytes,4,opt,name=peer" thrift:"4"`
-	S    string   `json:"s,omitempty" protobuf:"bytes,5,opt,name=s" thrift:"5"`
+	M    map[string]Peer234 `json:"m,omitempty" protobuf:"bytes,6,rep,name=m" protobuf_key:"bytes,1,opt,name=key" protobuf_val:"bytes,2,opt,name=value" thrift:"6"`
+	V    int64              `json:"v" protobuf:"varint,1,opt,name=v" thrift:"1"`
+	Next *Rec234            `json:"next,omitempty" protobuf:"bytes,2,opt,name=next" thrift:"2"`
+	Kids []Rec234           `json:"kids,omitempty" protobuf:"bytes,3,rep,name=kids" thrift:"3"`
+	Peer *Peer234           `json:"peer,omitempty" protobuf:"bytes,4,opt,name=peer" thrift:"4"`
+	S    string             `json:"s,omitempty" protobuf:"bytes,5,opt,name=s" thrift:"5"`
+	X00  int64              `json:"x0,omitempty" protobuf:"varint,20,opt,name=x0" thrift:"20"`
+	X01  int64              `json:"x1,omitempty" protobuf:"varint,21,opt,name=x1" thrift:"21"`
+	X02  int64              `json:"x2,omitempty" protobuf:"varint,22,opt,name=x2" thrift:"22"`
+	X03  int64              `json:"x3,omitempty" protobuf:"varint,23,opt,name=x3" thrift:"23"`
+	X04  int64              `json:"x4,omitempty" protobuf:"varint,24,opt,name=x4" thrift:"24"`
+	X05  int64              `json:"x5,omitempty" protobuf:"varint,25,opt,name=x5" thrift:"25"`
+	X06  int64              `json:"x6,omitempty" protobuf:"varint,26,opt,name=x6" thrift:"26"`
+	X07  int64              `json:"x7,omitempty" protobuf:"varint,27,opt,name=x7" thrift:"27"`
+	X08  int64              `json:"x8,omitempty" protobuf:"varint,28,opt,name=x8" thrift:"28"`
+	X09  int64              `json:"x9,omitempty" protobuf:"varint,29,opt,name=x9" thrift:"29"`
+	X10  int64              `json:"x10,omitempty" protobuf:"varint,30,opt,name=x10" thrift:"30"`
+	X11  int64              `json:"x11,omitempty" protobuf:"varint,31,opt,name=x11" thrift:"31"`
+	X12  int64              `json:"x12,omitempty" protobuf:"varint,32,opt,name=x12" thrift:"32"`
+	X13  int64              `json:"x13,omitempty" protobuf:"varint,33,opt,name=x13" thrift:"33"`
+	X14  int64              `json:"x14,omitempty" protobuf:"varint,34,opt,name=x14" thrift:"34"`
+	X15  int64              `json:"x15,omitempty" protobuf:"varint,35,opt,name=x15" thrift:"35"`
+	X16  int64              `json:"x16,omitempty" protobuf:"varint,36,opt,name=x16" thrift:"36"`
+	X17  int64              `json:"x17,omitempty" protobuf:"varint,37,opt,name=x17" thrift:"37"`
+	X18  int64              `json:"x18,omitempty" protobuf:"varint,38,opt,name=x18" thrift:"38"`
+	X19  int64              `json:"x19,omitempty" protobuf:"varint,39,opt,name=x19" thrift:"39"`
+	X20  int64              `json:"x20,omitempty" protobuf:"varint,40,opt,name=x20" thrift:"40"`
+	X21  int64              `json:"x21,omitempty" protobuf:"varint,41,opt,name=x21" thrift:"41"`
+	X22  int64              `json:"x22,omitempty" protobuf:"varint,42,opt,name=x22" thrift:"42"`
+	X23  int64              `json:"x23,omitempty" protobuf:"varint,43,opt,name=x23" thrift:"43"`
 }
 
 type Peer234 struct {
@@ -3295,11 +9170,36 @@ type Peer234 struct {
 }
 
 type Rec235 struct {
-	V    int64    `json:"v" protobuf:"varint,1,opt,name=v" thrift:"1"`
-	Next *Rec235  `json:"next,omitempty" protobuf:"bytes,2,opt,name=next" thrift:"2"`
-	Kids []Rec235 `json:"kids,omitempty" protobuf:"bytes,3,rep,name=kids" thrift:"3"`
-	Peer *Peer235 `json:"peer,omitempty" protobuf:"bytes,4,opt,name=peer" thrift:"4"`
-	S    string   `json:"s,omitempty" protobuf:"bytes,5,opt,name=s" thrift:"5"`
+	M    map[string]Peer235 `json:"m,omitempty" protobuf:"bytes,6,rep,name=m" protobuf_key:"bytes,1,opt,name=key" protobuf_val:"bytes,2,opt,name=value" thrift:"6"`
+	V    int64              `json:"v" protobuf:"varint,1,opt,name=v" thrift:"1"`
+	Next *Rec235            `json:"next,omitempty" protobuf:"bytes,2,opt,name=next" thrift:"2"`
+	Kids []Rec235           `json:"kids,omitempty" protobuf:"bytes,3,rep,name=kids" thrift:"3"`
+	Peer *Peer235           `json:"peer,omitempty" protobuf:"bytes,4,opt,name=peer" thrift:"4"`
+	S    string             `json:"s,omitempty" protobuf:"bytes,5,opt,name=s" thrift:"5"`
+	X00  int64              `json:"x0,omitempty" protobuf:"varint,20,opt,name=x0" thrift:"20"`
+	X01  int64              `json:"x1,omitempty" protobuf:"varint,21,opt,name=x1" thrift:"21"`
+	X02  int64              `json:"x2,omitempty" protobuf:"varint,22,opt,name=x2" thrift:"22"`
+	X03  int64              `json:"x3,omitempty" protobuf:"varint,23,opt,name=x3" thrift:"23"`
+	X04  int64              `json:"x4,omitempty" protobuf:"varint,24,opt,name=x4" thrift:"24"`
+	X05  int64              `json:"x5,omitempty" protobuf:"varint,25,opt,name=x5" thrift:"25"`
+	X06  int64              `json:"x6,omitempty" protobuf:"varint,26,opt,name=x6" thrift:"26"`
+	X07  int64              `json:"x7,omitempty" protobuf:"varint,27,opt,name=x7" thrift:"27"`
+	X08  int64              `json:"x8,omitempty" protobuf:"varint,28,opt,name=x8" thrift:"28"`
+	X09  int64              `json:"x9,omitempty" protobuf:"varint,29,opt,name=x9" thrift:"29"`
+	X10  int64              `json:"x10,omitempty" protobuf:"varint,30,opt,name=x10" thrift:"30"`
+	X11  int64              `json:"x11,omitempty" protobuf:"varint,31,opt,name=x11" thrift:"31"`
+	X12  int64              `json:"x12,omitempty" protobuf:"varint,32,opt,name=x12" thrift:"32"`
+	X13  int64              `json:"x13,omitempty" protobuf:"varint,33,opt,name=x13" thrift:"33"`
+	X14  int64              `json:"x14,omitempty" protobuf:"varint,34,opt,name=x14" thrift:"34"`
+	X15  int64              `json:"x15,omitempty" protobuf:"varint,35,opt,name=x15" thrift:"35"`
+	X16  int64              `json:"x16,omitempty" protobuf:"varint,36,opt,name=x16" thrift:"36"`
+	X17  int64              `json:"x17,omitempty" protobuf:"varint,37,opt,name=x17" thrift:"37"`
+	X18  int64              `json:"x18,omitempty" protobuf:"varint,38,opt,name=x18" thrift:"38"`
+	X19  int64              `json:"x19,omitempty" protobuf:"varint,39,opt,name=x19" thrift:"39"`
+	X20  int64              `json:"x20,omitempty" protobuf:"varint,40,opt,name=x20" thrift:"40"`
+	X21  int64              `json:"x21,omitempty" protobuf:"varint,41,opt,name=x21" thrift:"41"`
+	X22  int64              `json:"x22,omitempty" protobuf:"varint,42,opt,name=x22" thrift:"42"`
+	X23  int64              `json:"x23,omitempty" protobuf:"varint,43,opt,name=x23" thrift:"43"`
 }
 
 type Peer235 struct {
@@ -3309,11 +9209,36 @@ type Peer235 struct {
 }
 
 type Rec236 struct {
-	V    int64    `json:"v" protobuf:"varint,1,opt,name=v" thrift:"1"`
-	Next *Rec236  `json:"next,omitempty" protobuf:"bytes,2,opt,name=next" thrift:"2"`
-	Kids []Rec236 `json:"kids,omitempty" protobuf:"bytes,3,rep,name=kids" thrift:"3"`
-	Peer *Peer236 `json:"peer,omitempty" protobuf:"bytes,4,opt,name=peer" thrift:"4"`
-	S    string   `json:"s,omitempty" protobuf:"bytes,5,opt,name=s" thrift:"5"`
+	M    map[string]Peer236 `json:"m,omitempty" protobuf:"bytes,6,rep,name=m" protobuf_key:"bytes,1,opt,name=key" protobuf_val:"bytes,2,opt,name=value" thrift:"6"`
+	V    int64              `json:"v" protobuf:"varint,1,opt,name=v" thrift:"1"`
+	Next *Rec236            `json:"next,omitempty" protobuf:"bytes,2,opt,name=next" thrift:"2"`
+	Kids []Rec236           `json:"kids,omitempty" protobuf:"bytes,3,rep,name=kids" thrift:"3"`
+	Peer *Peer236           `json:"peer,omitempty" protobuf:"bytes,4,opt,name=peer" thrift:"4"`
+	S    string             `json:"s,omitempty" protobuf:"bytes,5,opt,name=s" thrift:"5"`
+	X00  int64              `json:"x0,omitempty" protobuf:"varint,20,opt,name=x0" thrift:"20"`
+	X01  int64              `json:"x1,omitempty" protobuf:"varint,21,opt,name=x1" thrift:"21"`
+	X02  int64              `json:"x2,omitempty" protobuf:"varint,22,opt,name=x2" thrift:"22"`
+	X03  int64              `json:"x3,omitempty" protobuf:"varint,23,opt,name=x3" thrift:"23"`
+	X04  int64              `json:"x4,omitempty" protobuf:"varint,24,opt,name=x4" thrift:"24"`
+	X05  int64              `json:"x5,omitempty" protobuf:"varint,25,opt,name=x5" thrift:"25"`
+	X06  int64              `json:"x6,omitempty" protobuf:"varint,26,opt,name=x6" thrift:"26"`
+	X07  int64              `json:"x7,omitempty" protobuf:"varint,27,opt,name=x7" thrift:"27"`
+	X08  int64              `json:"x8,omitempty" protobuf:"varint,28,opt,name=x8" thrift:"28"`
+	X09  int64              `json:"x9,omitempty" protobuf:"varint,29,opt,name=x9" thrift:"29"`
+	X10  int64              `json:"x10,omitempty" protobuf:"varint,30,opt,name=x10" thrift:"30"`
+	X11  int64              `json:"x11,omitempty" protobuf:"varint,31,opt,name=x11" thrift:"31"`
+	X12  int64              `json:"x12,omitempty" protobuf:"varint,32,opt,name=x12" thrift:"32"`
+	X13  int64              `json:"x13,omitempty" protobuf:"varint,33,opt,name=x13" thrift:"33"`
+	X14  int64              `json:"x14,omitempty" protobuf:"varint,34,opt,name=x14" thrift:"34"`
+	X15  int64              `json:"x15,omitempty" protobuf:"varint,35,opt,name=x15" thrift:"35"`
+	X16  int64              `json:"x16,omitempty" protobuf:"varint,36,opt,name=x16" thrift:"36"`
+	X17  int64              `json:"x17,omitempty" protobuf:"varint,37,opt,name=x17" thrift:"37"`
+	X18  int64              `json:"x18,omitempty" protobuf:"varint,38,opt,name=x18" thrift:"38"`
+	X19  int64              `json:"x19,omitempty" protobuf:"varint,39,opt,name=x19" thrift:"39"`
+	X20  int64              `json:"x20,omitempty" protobuf:"varint,40,opt,name=x20" thrift:"40"`
+	X21  int64              `json:"x21,omitempty" protobuf:"varint,41,opt,name=x21" thrift:"41"`
+	X22  int64              `json:"x22,omitempty" protobuf:"varint,42,opt,name=x22" thrift:"42"`
+	X23  int64              `json:"x23,omitempty" protobuf:"varint,43,opt,name=x23" thrift:"43"`
 }
 
 type Peer236 struct {
@@ -3323,11 +9248,36 @@ type Peer236 struct {
 }
 
 type Rec237 struct {
-	V    int64    `json:"v" protobuf:"varint,1,opt,name=v" thrift:"1"`
-	Next *Rec237  `json:"next,omitempty" protobuf:"bytes,2,opt,name=next" thrift:"2"`
-	Kids []Rec237 `json:"kids,omitempty" protobuf:"bytes,3,rep,name=kids" thrift:"3"`
-	Peer *Peer237 `json:"peer,omitempty" protobuf:"bytes,4,opt,name=peer" thrift:"4"`
-	S    string   `json:"s,omitempty" protobuf:"bytes,5,opt,name=s" thrift:"5"`
+	M    map[string]Peer237 `json:"m,omitempty" protobuf:"bytes,6,rep,name=m" protobuf_key:"bytes,1,opt,name=key" protobuf_val:"bytes,2,opt,name=value" thrift:"6"`
+	V    int64              `json:"v" protobuf:"varint,1,opt,name=v" thrift:"1"`
+	Next *Rec237            `json:"next,omitempty" protobuf:"bytes,2,opt,name=next" thrift:"2"`
+	Kids []Rec237           `json:"kids,omitempty" protobuf:"bytes,3,rep,name=kids" thrift:"3"`
+	Peer *Peer237           `json:"peer,omitempty" protobuf:"bytes,4,opt,name=peer" thrift:"4"`
+	S    string             `json:"s,omitempty" protobuf:"bytes,5,opt,name=s" thrift:"5"`
+	X00  int64              `json:"x0,omitempty" protobuf:"varint,20,opt,name=x0" thrift:"20"`
+	X01  int64              `json:"x1,omitempty" protobuf:"varint,21,opt,name=x1" thrift:"21"`
+	X02  int64              `json:"x2,omitempty" protobuf:"varint,22,opt,name=x2" thrift:"22"`
+	X03  int64              `json:"x3,omitempty" protobuf:"varint,23,opt,name=x3" thrift:"23"`
+	X04  int64              `json:"x4,omitempty" protobuf:"varint,24,opt,name=x4" thrift:"24"`
+	X05  int64              `json:"x5,omitempty" protobuf:"varint,25,opt,name=x5" thrift:"25"`
+	X06  int64              `json:"x6,omitempty" protobuf:"varint,26,opt,name=x6" thrift:"26"`
+	X07  int64              `json:"x7,omitempty" protobuf:"varint,27,opt,name=x7" thrift:"27"`
+	X08  int64              `json:"x8,omitempty" protobuf:"varint,28,opt,name=x8" thrift:"28"`
+	X09  int64              `json:"x9,omitempty" protobuf:"varint,29,opt,name=x9" thrift:"29"`
+	X10  int64              `json:"x10,omitempty" protobuf:"varint,30,opt,name=x10" thrift:"30"`
+	X11  int64              `json:"x11,omitempty" protobuf:"varint,31,opt,name=x11" thrift:"31"`
+	X12  int64              `json:"x12,omitempty" protobuf:"varint,32,opt,name=x12" thrift:"32"`
+	X13  int64              `json:"x13,omitempty" protobuf:"varint,33,opt,name=x13" thrift:"33"`
+	X14  int64              `json:"x14,omitempty" protobuf:"varint,34,opt,name=x14" thrift:"34"`
+	X15  int64              `json:"x15,omitempty" protobuf:"varint,35,opt,name=x15" thrift:"35"`
+	X16  int64              `json:"x16,omitempty" protobuf:"varint,36,opt,name=x16" thrift:"36"`
+	X17  int64              `json:"x17,omitempty" protobuf:"varint,37,opt,name=x17" thrift:"37"`
+	X18  int64              `json:"x18,omitempty" protobuf:"varint,38,opt,name=x18" thrift:"38"`
+	X19  int64              `json:"x19,omitempty" protobuf:"varint,39,opt,name=x19" thrift:"39"`
+	X20  int64              `json:"x20,omitempty" protobuf:"varint,40,opt,name=x20" thrift:"40"`
+	X21  int64              `json:"x21,omitempty" protobuf:"varint,41,opt,name=x21" thrift:"41"`
+	X22  int64              `json:"x22,omitempty" protobuf:"varint,42,opt,name=x22" thrift:"42"`
+	X23  int64              `json:"x23,omitempty" protobuf:"varint,43,opt,name=x23" thrift:"43"`
 }
 
 type Peer237 struct {
@@ -3337,11 +9287,36 @@ type Peer237 struct {
 }
 
 type Rec238 struct {
-	V    int64    `json:"v" protobuf:"varint,1,opt,name=v" thrift:"1"`
-	Next *Rec238  `json:"next,omitempty" protobuf:"bytes,2,opt,name=next" thrift:"2"`
-	Kids []Rec238 `json:"kids,omitempty" protobuf:"bytes,3,rep,name=kids" thrift:"3"`
-	Peer *Peer238 `json:"peer,omitempty" protobuf:"bytes,4,opt,name=peer" thrift:"4"`
-	S    string   `json:"s,omitempty" protobuf:"bytes,5,opt,name=s" thrift:"5"`
+	M    map[string]Peer238 `json:"m,omitempty" protobuf:"bytes,6,rep,name=m" protobuf_key:"bytes,1,opt,name=key" protobuf_val:"bytes,2,opt,name=value" thrift:"6"`
+	V    int64              `json:"v" protobuf:"varint,1,opt,name=v" thrift:"1"`
+	Next *Rec238            `json:"next,omitempty" protobuf:"bytes,2,opt,name=next" thrift:"2"`
+	Kids []Rec238           `json:"kids,omitempty" protobuf:"bytes,3,rep,name=kids" thrift:"3"`
+	Peer *Peer238           `json:"peer,omitempty" protobuf:"bytes,4,opt,name=peer" thrift:"4"`
+	S    string             `json:"s,omitempty" protobuf:"bytes,5,opt,name=s" thrift:"5"`
+	X00  int64              `json:"x0,omitempty" protobuf:"varint,20,opt,name=x0" thrift:"20"`
+	X01  int64              `json:"x1,omitempty" protobuf:"varint,21,opt,name=x1" thrift:"21"`
+	X02  int64              `json:"x2,omitempty" protobuf:"varint,22,opt,name=x2" thrift:"22"`
+	X03  int64              `json:"x3,omitempty" protobuf:"varint,23,opt,name=x3" thrift:"23"`
+	X04  int64              `json:"x4,omitempty" protobuf:"varint,24,opt,name=x4" thrift:"24"`
+	X05  int64              `json:"x5,omitempty" protobuf:"varint,25,opt,name=x5" thrift:"25"`
+	X06  int64              `json:"x6,omitempty" protobuf:"varint,26,opt,name=x6" thrift:"26"`
+	X07  int64              `json:"x7,omitempty" protobuf:"varint,27,opt,name=x7" thrift:"27"`
+	X08  int64              `json:"x8,omitempty" protobuf:"varint,28,opt,name=x8" thrift:"28"`
+	X09  int64              `json:"x9,omitempty" protobuf:"varint,29,opt,name=x9" thrift:"29"`
+	X10  int64              `json:"x10,omitempty" protobuf:"varint,30,opt,name=x10" thrift:"30"`
+	X11  int64              `json:"x11,omitempty" protobuf:"varint,31,opt,name=x11" thrift:"31"`
+	X12  int64              `json:"x12,omitempty" protobuf:"varint,32,opt,name=x12" thrift:"32"`
+	X13  int64              `json:"x13,omitempty" protobuf:"varint,33,opt,name=x13" thrift:"33"`
+	X14  int64              `json:"x14,omitempty" protobuf:"varint,34,opt,name=x14" thrift:"34"`
+	X15  int64              `json:"x15,omitempty" protobuf:"varint,35,opt,name=x15" thrift:"35"`
+	X16  int64              `json:"x16,omitempty" protobuf:"varint,36,opt,name=x16" thrift:"36"`
+	X17  int64              `json:"x17,omitempty" protobuf:"varint,37,opt,name=x17" thrift:"37"`
+	X18  int64              `json:"x18,omitempty" protobuf:"varint,38,opt,name=x18" thrift:"38"`
+	X19  int64              `json:"x19,omitempty" protobuf:"varint,39,opt,name=x19" thrift:"39"`
+	X20  int64              `json:"x20,omitempty" protobuf:"varint,40,opt,name=x20" thrift:"40"`
+	X21  int64              `json:"x21,omitempty" protobuf:"varint,41,opt,name=x21" thrift:"41"`
+	X22  int64              `json:"x22,omitempty" protobuf:"varint,42,opt,name=x22" thrift:"42"`
+	X23  int64              `json:"x23,omitempty" protobuf:"varint,43,opt,name=x23" thrift:"43"`
 }
 
 type Peer238 struct {
@@ -3351,11 +9326,36 @@ type Peer238 struct {
 }
 
 type Rec239 struct {
-	V    int64    `json:"v" protobuf:"varint,1,opt,name=v" thrift:"1"`
-	Next *Rec239  `json:"next,omitempty" protobuf:"bytes,2,opt,name=next" thrift:"2"`
-	Kids []Rec239 `json:"kids,omitempty" protobuf:"bytes,3,rep,name=kids" thrift:"3"`
-	Peer *Peer239 `json:"peer,omitempty" protobuf:"bytes,4,opt,name=peer" thrift:"4"`
-	S    string   `json:"s,omitempty" protobuf:"bytes,5,opt,name=s" thrift:"5"`
+	M    map[string]Peer239 `json:"m,omitempty" protobuf:"bytes,6,rep,name=m" protobuf_key:"bytes,1,opt,name=key" protobuf_val:"bytes,2,opt,name=value" thrift:"6"`
+	V    int64              `json:"v" protobuf:"varint,1,opt,name=v" thrift:"1"`
+	Next *Rec239            `json:"next,omitempty" protobuf:"bytes,2,opt,name=next" thrift:"2"`
+	Kids []Rec239           `json:"kids,omitempty" protobuf:"bytes,3,rep,name=kids" thrift:"3"`
+	Peer *Peer239           `json:"peer,omitempty" protobuf:"bytes,4,opt,name=peer" thrift:"4"`
+	S    string             `json:"s,omitempty" protobuf:"bytes,5,opt,name=s" thrift:"5"`
+	X00  int64              `json:"x0,omitempty" protobuf:"varint,20,opt,name=x0" thrift:"20"`
+	X01  int64              `json:"x1,omitempty" protobuf:"varint,21,opt,name=x1" thrift:"21"`
+	X02  int64              `json:"x2,omitempty" protobuf:"varint,22,opt,name=x2" thrift:"22"`
+	X03  int64              `json:"x3,omitempty" protobuf:"varint,23,opt,name=x3" thrift:"23"`
+	X04  int64              `json:"x4,omitempty" protobuf:"varint,24,opt,name=x4" thrift:"24"`
+	X05  int64              `json:"x5,omitempty" protobuf:"varint,25,opt,name=x5" thrift:"25"`
+	X06  int64              `json:"x6,omitempty" protobuf:"varint,26,opt,name=x6" thrift:"26"`
+	X07  int64              `json:"x7,omitempty" protobuf:"varint,27,opt,name=x7" thrift:"27"`
+	X08  int64              `json:"x8,omitempty" protobuf:"varint,28,opt,name=x8" thrift:"28"`
+	X09  int64              `json:"x9,omitempty" protobuf:"varint,29,opt,name=x9" thrift:"29"`
+	X10  int64              `json:"x10,omitempty" protobuf:"varint,30,opt,name=x10" thrift:"30"`
+	X11  int64              `json:"x11,omitempty" protobuf:"varint,31,opt,name=x11" thrift:"31"`
+	X12  int64              `json:"x12,omitempty" protobuf:"varint,32,opt,name=x12" thrift:"32"`
+	X13  int64              `json:"x13,omitempty" protobuf:"varint,33,opt,name=x13" thrift:"33"`
+	X14  int64              `json:"x14,omitempty" protobuf:"varint,34,opt,name=x14" thrift:"34"`
+	X15  int64              `json:"x15,omitempty" protobuf:"varint,35,opt,name=x15" thrift:"35"`
+	X16  int64              `json:"x16,omitempty" protobuf:"varint,36,opt,name=x16" thrift:"36"`
+	X17  int64              `json:"x17,omitempty" protobuf:"varint,37,opt,name=x17" thrift:"37"`
+	X18  int64              `json:"x18,omitempty" protobuf:"varint,38,opt,name=x18" thrift:"38"`
+	X19  int64              `json:"x19,omitempty" protobuf:"varint,39,opt,name=x19" thrift:"39"`
+	X20  int64              `json:"x20,omitempty" protobuf:"varint,40,opt,name=x20" thrift:"40"`
+	X21  int64              `json:"x21,omitempty" protobuf:"varint,41,opt,name=x21" thrift:"41"`
+	X22  int64              `json:"x22,omitempty" protobuf:"varint,42,opt,name=x22" thrift:"42"`
+	X23  int64              `json:"x23,omitempty" protobuf:"varint,43,opt,name=x23" thrift:"43"`
 }
 
 type Peer239 struct {
@@ -3605,4 +9605,247 @@ var recTypes = []reflect.Type{
 	reflect.TypeOf(Rec237{}),
 	reflect.TypeOf(Rec238{}),
 	reflect.TypeOf(Rec239{}),
+}
+
+var peerTypes = []reflect.Type{
+	reflect.TypeOf(Peer000{}),
+	reflect.TypeOf(Peer001{}),
+	reflect.TypeOf(Peer002{}),
+	reflect.TypeOf(Peer003{}),
+	reflect.TypeOf(Peer004{}),
+	reflect.TypeOf(Peer005{}),
+	reflect.TypeOf(Peer006{}),
+	reflect.TypeOf(Peer007{}),
+	reflect.TypeOf(Peer008{}),
+	reflect.TypeOf(Peer009{}),
+	reflect.TypeOf(Peer010{}),
+	reflect.TypeOf(Peer011{}),
+	reflect.TypeOf(Peer012{}),
+	reflect.TypeOf(Peer013{}),
+	reflect.TypeOf(Peer014{}),
+	reflect.TypeOf(Peer015{}),
+	reflect.TypeOf(Peer016{}),
+	reflect.TypeOf(Peer017{}),
+	reflect.TypeOf(Peer018{}),
+	reflect.TypeOf(Peer019{}),
+	reflect.TypeOf(Peer020{}),
+	reflect.TypeOf(Peer021{}),
+	reflect.TypeOf(Peer022{}),
+	reflect.TypeOf(Peer023{}),
+	reflect.TypeOf(Peer024{}),
+	reflect.TypeOf(Peer025{}),
+	reflect.TypeOf(Peer026{}),
+	reflect.TypeOf(Peer027{}),
+	reflect.TypeOf(Peer028{}),
+	reflect.TypeOf(Peer029{}),
+	reflect.TypeOf(Peer030{}),
+	reflect.TypeOf(Peer031{}),
+	reflect.TypeOf(Peer032{}),
+	reflect.TypeOf(Peer033{}),
+	reflect.TypeOf(Peer034{}),
+	reflect.TypeOf(Peer035{}),
+	reflect.TypeOf(Peer036{}),
+	reflect.TypeOf(Peer037{}),
+	reflect.TypeOf(Peer038{}),
+	reflect.TypeOf(Peer039{}),
+	reflect.TypeOf(Peer040{}),
+	reflect.TypeOf(Peer041{}),
+	reflect.TypeOf(Peer042{}),
+	reflect.TypeOf(Peer043{}),
+	reflect.TypeOf(Peer044{}),
+	reflect.TypeOf(Peer045{}),
+	reflect.TypeOf(Peer046{}),
+	reflect.TypeOf(Peer047{}),
+	reflect.TypeOf(Peer048{}),
+	reflect.TypeOf(Peer049{}),
+	reflect.TypeOf(Peer050{}),
+	reflect.TypeOf(Peer051{}),
+	reflect.TypeOf(Peer052{}),
+	reflect.TypeOf(Peer053{}),
+	reflect.TypeOf(Peer054{}),
+	reflect.TypeOf(Peer055{}),
+	reflect.TypeOf(Peer056{}),
+	reflect.TypeOf(Peer057{}),
+	reflect.TypeOf(Peer058{}),
+	reflect.TypeOf(Peer059{}),
+	reflect.TypeOf(Peer060{}),
+	reflect.TypeOf(Peer061{}),
+	reflect.TypeOf(Peer062{}),
+	reflect.TypeOf(Peer063{}),
+	reflect.TypeOf(Peer064{}),
+	reflect.TypeOf(Peer065{}),
+	reflect.TypeOf(Peer066{}),
+	reflect.TypeOf(Peer067{}),
+	reflect.TypeOf(Peer068{}),
+	reflect.TypeOf(Peer069{}),
+	reflect.TypeOf(Peer070{}),
+	reflect.TypeOf(Peer071{}),
+	reflect.TypeOf(Peer072{}),
+	reflect.TypeOf(Peer073{}),
+	reflect.TypeOf(Peer074{}),
+	reflect.TypeOf(Peer075{}),
+	reflect.TypeOf(Peer076{}),
+	reflect.TypeOf(Peer077{}),
+	reflect.TypeOf(Peer078{}),
+	reflect.TypeOf(Peer079{}),
+	reflect.TypeOf(Peer080{}),
+	reflect.TypeOf(Peer081{}),
+	reflect.TypeOf(Peer082{}),
+	reflect.TypeOf(Peer083{}),
+	reflect.TypeOf(Peer084{}),
+	reflect.TypeOf(Peer085{}),
+	reflect.TypeOf(Peer086{}),
+	reflect.TypeOf(Peer087{}),
+	reflect.TypeOf(Peer088{}),
+	reflect.TypeOf(Peer089{}),
+	reflect.TypeOf(Peer090{}),
+	reflect.TypeOf(Peer091{}),
+	reflect.TypeOf(Peer092{}),
+	reflect.TypeOf(Peer093{}),
+	reflect.TypeOf(Peer094{}),
+	reflect.TypeOf(Peer095{}),
+	reflect.TypeOf(Peer096{}),
+	reflect.TypeOf(Peer097{}),
+	reflect.TypeOf(Peer098{}),
+	reflect.TypeOf(Peer099{}),
+	reflect.TypeOf(Peer100{}),
+	reflect.TypeOf(Peer101{}),
+	reflect.TypeOf(Peer102{}),
+	reflect.TypeOf(Peer103{}),
+	reflect.TypeOf(Peer104{}),
+	reflect.TypeOf(Peer105{}),
+	reflect.TypeOf(Peer106{}),
+	reflect.TypeOf(Peer107{}),
+	reflect.TypeOf(Peer108{}),
+	reflect.TypeOf(Peer109{}),
+	reflect.TypeOf(Peer110{}),
+	reflect.TypeOf(Peer111{}),
+	reflect.TypeOf(Peer112{}),
+	reflect.TypeOf(Peer113{}),
+	reflect.TypeOf(Peer114{}),
+	reflect.TypeOf(Peer115{}),
+	reflect.TypeOf(Peer116{}),
+	reflect.TypeOf(Peer117{}),
+	reflect.TypeOf(Peer118{}),
+	reflect.TypeOf(Peer119{}),
+	reflect.TypeOf(Peer120{}),
+	reflect.TypeOf(Peer121{}),
+	reflect.TypeOf(Peer122{}),
+	reflect.TypeOf(Peer123{}),
+	reflect.TypeOf(Peer124{}),
+	reflect.TypeOf(Peer125{}),
+	reflect.TypeOf(Peer126{}),
+	reflect.TypeOf(Peer127{}),
+	reflect.TypeOf(Peer128{}),
+	reflect.TypeOf(Peer129{}),
+	reflect.TypeOf(Peer130{}),
+	reflect.TypeOf(Peer131{}),
+	reflect.TypeOf(Peer132{}),
+	reflect.TypeOf(Peer133{}),
+	reflect.TypeOf(Peer134{}),
+	reflect.TypeOf(Peer135{}),
+	reflect.TypeOf(Peer136{}),
+	reflect.TypeOf(Peer137{}),
+	reflect.TypeOf(Peer138{}),
+	reflect.TypeOf(Peer139{}),
+	reflect.TypeOf(Peer140{}),
+	reflect.TypeOf(Peer141{}),
+	reflect.TypeOf(Peer142{}),
+	reflect.TypeOf(Peer143{}),
+	reflect.TypeOf(Peer144{}),
+	reflect.TypeOf(Peer145{}),
+	reflect.TypeOf(Peer146{}),
+	reflect.TypeOf(Peer147{}),
+	reflect.TypeOf(Peer148{}),
+	reflect.TypeOf(Peer149{}),
+	reflect.TypeOf(Peer150{}),
+	reflect.TypeOf(Peer151{}),
+	reflect.TypeOf(Peer152{}),
+	reflect.TypeOf(Peer153{}),
+	reflect.TypeOf(Peer154{}),
+	reflect.TypeOf(Peer155{}),
+	reflect.TypeOf(Peer156{}),
+	reflect.TypeOf(Peer157{}),
+	reflect.TypeOf(Peer158{}),
+	reflect.TypeOf(Peer159{}),
+	reflect.TypeOf(Peer160{}),
+	reflect.TypeOf(Peer161{}),
+	reflect.TypeOf(Peer162{}),
+	reflect.TypeOf(Peer163{}),
+	reflect.TypeOf(Peer164{}),
+	reflect.TypeOf(Peer165{}),
+	reflect.TypeOf(Peer166{}),
+	reflect.TypeOf(Peer167{}),
+	reflect.TypeOf(Peer168{}),
+	reflect.TypeOf(Peer169{}),
+	reflect.TypeOf(Peer170{}),
+	reflect.TypeOf(Peer171{}),
+	reflect.TypeOf(Peer172{}),
+	reflect.TypeOf(Peer173{}),
+	reflect.TypeOf(Peer174{}),
+	reflect.TypeOf(Peer175{}),
+	reflect.TypeOf(Peer176{}),
+	reflect.TypeOf(Peer177{}),
+	reflect.TypeOf(Peer178{}),
+	reflect.TypeOf(Peer179{}),
+	reflect.TypeOf(Peer180{}),
+	reflect.TypeOf(Peer181{}),
+	reflect.TypeOf(Peer182{}),
+	reflect.TypeOf(Peer183{}),
+	reflect.TypeOf(Peer184{}),
+	reflect.TypeOf(Peer185{}),
+	reflect.TypeOf(Peer186{}),
+	reflect.TypeOf(Peer187{}),
+	reflect.TypeOf(Peer188{}),
+	reflect.TypeOf(Peer189{}),
+	reflect.TypeOf(Peer190{}),
+	reflect.TypeOf(Peer191{}),
+	reflect.TypeOf(Peer192{}),
+	reflect.TypeOf(Peer193{}),
+	reflect.TypeOf(Peer194{}),
+	reflect.TypeOf(Peer195{}),
+	reflect.TypeOf(Peer196{}),
+	reflect.TypeOf(Peer197{}),
+	reflect.TypeOf(Peer198{}),
+	reflect.TypeOf(Peer199{}),
+	reflect.TypeOf(Peer200{}),
+	reflect.TypeOf(Peer201{}),
+	reflect.TypeOf(Peer202{}),
+	reflect.TypeOf(Peer203{}),
+	reflect.TypeOf(Peer204{}),
+	reflect.TypeOf(Peer205{}),
+	reflect.TypeOf(Peer206{}),
+	reflect.TypeOf(Peer207{}),
+	reflect.TypeOf(Peer208{}),
+	reflect.TypeOf(Peer209{}),
+	reflect.TypeOf(Peer210{}),
+	reflect.TypeOf(Peer211{}),
+	reflect.TypeOf(Peer212{}),
+	reflect.TypeOf(Peer213{}),
+	reflect.TypeOf(Peer214{}),
+	reflect.TypeOf(Peer215{}),
+	reflect.TypeOf(Peer216{}),
+	reflect.TypeOf(Peer217{}),
+	reflect.TypeOf(Peer218{}),
+	reflect.TypeOf(Peer219{}),
+	reflect.TypeOf(Peer220{}),
+	reflect.TypeOf(Peer221{}),
+	reflect.TypeOf(Peer222{}),
+	reflect.TypeOf(Peer223{}),
+	reflect.TypeOf(Peer224{}),
+	reflect.TypeOf(Peer225{}),
+	reflect.TypeOf(Peer226{}),
+	reflect.TypeOf(Peer227{}),
+	reflect.TypeOf(Peer228{}),
+	reflect.TypeOf(Peer229{}),
+	reflect.TypeOf(Peer230{}),
+	reflect.TypeOf(Peer231{}),
+	reflect.TypeOf(Peer232{}),
+	reflect.TypeOf(Peer233{}),
+	reflect.TypeOf(Peer234{}),
+	reflect.TypeOf(Peer235{}),
+	reflect.TypeOf(Peer236{}),
+	reflect.TypeOf(Peer237{}),
+	reflect.TypeOf(Peer238{}),
+	reflect.TypeOf(Peer239{}),
 }
